@@ -46,6 +46,33 @@ module Coq__1 = struct
 end
 include Coq__1
 
+(** val mul : nat -> nat -> nat **)
+
+let rec mul n0 m =
+  match n0 with
+  | O -> O
+  | S p -> add m (mul p m)
+
+(** val sub : nat -> nat -> nat **)
+
+let rec sub n0 m =
+  match n0 with
+  | O -> n0
+  | S k -> (match m with
+            | O -> n0
+            | S l -> sub k l)
+
+(** val eqb : nat -> nat -> bool **)
+
+let rec eqb n0 m =
+  match n0 with
+  | O -> (match m with
+          | O -> true
+          | S _ -> false)
+  | S n' -> (match m with
+             | O -> false
+             | S m' -> eqb n' m')
+
 (** val leb : nat -> nat -> bool **)
 
 let rec leb n0 m =
@@ -54,6 +81,21 @@ let rec leb n0 m =
   | S n' -> (match m with
              | O -> false
              | S m' -> leb n' m')
+
+(** val divmod : nat -> nat -> nat -> nat -> nat * nat **)
+
+let rec divmod x y q u =
+  match x with
+  | O -> (q, u)
+  | S x' -> (match u with
+             | O -> divmod x' y (S q) y
+             | S u' -> divmod x' y q u')
+
+(** val modulo : nat -> nat -> nat **)
+
+let modulo x = function
+| O -> x
+| S y' -> sub y' (snd (divmod x y' O y'))
 
 type positive =
 | XI of positive
@@ -377,6 +419,12 @@ module N =
   | N0 -> N0
   | Npos p -> Npos (XO p)
 
+  (** val succ_pos : n -> positive **)
+
+  let succ_pos = function
+  | N0 -> XH
+  | Npos p -> Coq_Pos.succ p
+
   (** val add : n -> n -> n **)
 
   let add n0 m =
@@ -443,6 +491,13 @@ module N =
     match compare x y with
     | Lt -> true
     | _ -> false
+
+  (** val min : n -> n -> n **)
+
+  let min n0 n' =
+    match compare n0 n' with
+    | Gt -> n'
+    | _ -> n0
 
   (** val div2 : n -> n **)
 
@@ -550,6 +605,18 @@ module N =
   | S n' -> Npos (Coq_Pos.of_succ_nat n')
  end
 
+(** val hd : 'a1 -> 'a1 list -> 'a1 **)
+
+let hd default = function
+| [] -> default
+| x :: _ -> x
+
+(** val tl : 'a1 list -> 'a1 list **)
+
+let tl = function
+| [] -> []
+| _ :: m -> m
+
 (** val nth : nat -> 'a1 list -> 'a1 -> 'a1 **)
 
 let rec nth n0 l default =
@@ -559,7 +626,7 @@ let rec nth n0 l default =
           | x :: _ -> x)
   | S m -> (match l with
             | [] -> default
-            | _ :: t -> nth m t default)
+            | _ :: t0 -> nth m t0 default)
 
 (** val nth_error : 'a1 list -> nat -> 'a1 option **)
 
@@ -581,19 +648,60 @@ let rec concat = function
 
 let rec map f = function
 | [] -> []
-| a :: t -> (f a) :: (map f t)
+| a :: t0 -> (f a) :: (map f t0)
+
+(** val flat_map : ('a1 -> 'a2 list) -> 'a1 list -> 'a2 list **)
+
+let rec flat_map f = function
+| [] -> []
+| x :: t0 -> app (f x) (flat_map f t0)
+
+(** val fold_left : ('a1 -> 'a2 -> 'a1) -> 'a2 list -> 'a1 -> 'a1 **)
+
+let rec fold_left f l a0 =
+  match l with
+  | [] -> a0
+  | b :: t0 -> fold_left f t0 (f a0 b)
 
 (** val fold_right : ('a2 -> 'a1 -> 'a1) -> 'a1 -> 'a2 list -> 'a1 **)
 
 let rec fold_right f a0 = function
 | [] -> a0
-| b :: t -> f b (fold_right f a0 t)
+| b :: t0 -> f b (fold_right f a0 t0)
+
+(** val existsb : ('a1 -> bool) -> 'a1 list -> bool **)
+
+let rec existsb f = function
+| [] -> false
+| a :: l0 -> (||) (f a) (existsb f l0)
+
+(** val forallb : ('a1 -> bool) -> 'a1 list -> bool **)
+
+let rec forallb f = function
+| [] -> true
+| a :: l0 -> (&&) (f a) (forallb f l0)
 
 (** val filter : ('a1 -> bool) -> 'a1 list -> 'a1 list **)
 
 let rec filter f = function
 | [] -> []
 | x :: l0 -> if f x then x :: (filter f l0) else filter f l0
+
+(** val find : ('a1 -> bool) -> 'a1 list -> 'a1 option **)
+
+let rec find f = function
+| [] -> None
+| x :: tl0 -> if f x then Some x else find f tl0
+
+(** val combine : 'a1 list -> 'a2 list -> ('a1 * 'a2) list **)
+
+let rec combine l l' =
+  match l with
+  | [] -> []
+  | x :: tl0 ->
+    (match l' with
+     | [] -> []
+     | y :: tl' -> (x, y) :: (combine tl0 tl'))
 
 (** val firstn : nat -> 'a1 list -> 'a1 list **)
 
@@ -618,6 +726,12 @@ let rec skipn n0 l =
 let rec seq start = function
 | O -> []
 | S len0 -> start :: (seq (S start) len0)
+
+(** val repeat : 'a1 -> nat -> 'a1 list **)
+
+let rec repeat x = function
+| O -> []
+| S k -> x :: (repeat x k)
 
 type pclass =
 | PAssert
@@ -659,6 +773,18 @@ let nth_ok l i =
   | Some a -> Ok a
   | None -> Panic PIndex
 
+(** val omapM : ('a1 -> 'a2 outcome) -> 'a1 list -> 'a2 list outcome **)
+
+let rec omapM f = function
+| [] -> Ok []
+| a :: t0 ->
+  (match f a with
+   | Ok b ->
+     (match omapM f t0 with
+      | Ok bs -> Ok (b :: bs)
+      | Panic c -> Panic c)
+   | Panic c -> Panic c)
+
 type mode =
 | Release
 | Checked
@@ -678,10 +804,52 @@ let u8 =
 let u32 =
   wrap (Npos (XO (XO (XO (XO (XO XH))))))
 
+(** val add_w : mode -> n -> n -> n -> n outcome **)
+
+let add_w m w a b =
+  let s = N.add a b in
+  if N.ltb s (N.pow (Npos (XO XH)) w)
+  then Ok s
+  else (match m with
+        | Release -> Ok (N.modulo s (N.pow (Npos (XO XH)) w))
+        | Checked -> Panic POverflow)
+
+(** val mul_w : mode -> n -> n -> n -> n outcome **)
+
+let mul_w m w a b =
+  let s = N.mul a b in
+  if N.ltb s (N.pow (Npos (XO XH)) w)
+  then Ok s
+  else (match m with
+        | Release -> Ok (N.modulo s (N.pow (Npos (XO XH)) w))
+        | Checked -> Panic POverflow)
+
+(** val sub_w : mode -> n -> n -> n -> n outcome **)
+
+let sub_w m w a b =
+  if N.leb b a
+  then Ok (N.sub a b)
+  else (match m with
+        | Release ->
+          Ok
+            (N.modulo (N.sub (N.add (N.pow (Npos (XO XH)) w) a) b)
+              (N.pow (Npos (XO XH)) w))
+        | Checked -> Panic POverflow)
+
+(** val div_ok : n -> n -> n outcome **)
+
+let div_ok a b =
+  if N.eqb b N0 then Panic PDivZero else Ok (N.div a b)
+
 (** val rem_ok : n -> n -> n outcome **)
 
 let rem_ok a b =
   if N.eqb b N0 then Panic PDivZero else Ok (N.modulo a b)
+
+(** val ceil_div : n -> n -> n **)
+
+let ceil_div a b =
+  if N.eqb (N.modulo a b) N0 then N.div a b else N.add (N.div a b) (Npos XH)
 
 (** val rangeN : nat -> n list **)
 
@@ -692,7 +860,7 @@ let rangeN n0 =
 
 let rec xsum = function
 | [] -> N0
-| x :: t -> N.coq_lxor x (xsum t)
+| x :: t0 -> N.coq_lxor x (xsum t0)
 
 (** val mAX_SOURCE_SYMBOLS_PER_BLOCK : n **)
 
@@ -717,6 +885,91 @@ let mAX_TRANSFER_LENGTH =
 let eSI_LIMIT =
   Npos (XO (XO (XO (XO (XO (XO (XO (XO (XO (XO (XO (XO (XO (XO (XO (XO (XO
     (XO (XO (XO (XO (XO (XO (XO XH))))))))))))))))))))))))
+
+(** val tUPLE_A_BASE : n **)
+
+let tUPLE_A_BASE =
+  Npos (XI (XI (XI (XO (XI (XO (XI (XO (XI (XO (XO (XO (XI (XO (XI
+    XH)))))))))))))))
+
+(** val tUPLE_A_MUL : n **)
+
+let tUPLE_A_MUL =
+  Npos (XI (XO (XI (XO (XO (XI (XI (XI (XI XH)))))))))
+
+(** val tUPLE_B_MUL : n **)
+
+let tUPLE_B_MUL =
+  Npos (XI (XI (XO (XI (XI (XO (XO (XO (XO (XO (XO (XI (XO XH)))))))))))))
+
+(** val tUPLE_Y_MOD : n **)
+
+let tUPLE_Y_MOD =
+  Npos (XO (XO (XO (XO (XO (XO (XO (XO (XO (XO (XO (XO (XO (XO (XO (XO (XO
+    (XO (XO (XO (XO (XO (XO (XO (XO (XO (XO (XO (XO (XO (XO (XO
+    XH))))))))))))))))))))))))))))))))
+
+(** val tUPLE_V_RANGE : n **)
+
+let tUPLE_V_RANGE =
+  Npos (XO (XO (XO (XO (XO (XO (XO (XO (XO (XO (XO (XO (XO (XO (XO (XO (XO
+    (XO (XO (XO XH))))))))))))))))))))
+
+(** val dEG_V_LIMIT : n **)
+
+let dEG_V_LIMIT =
+  Npos (XO (XO (XO (XO (XO (XO (XO (XO (XO (XO (XO (XO (XO (XO (XO (XO (XO
+    (XO (XO (XO XH))))))))))))))))))))
+
+(** val dEG_F : n list **)
+
+let dEG_F =
+  N0 :: ((Npos (XI (XI (XO (XI (XI (XI (XI (XO (XO (XO (XI (XO
+    XH))))))))))))) :: ((Npos (XI (XI (XO (XI (XI (XI (XI (XO (XO (XO (XI (XO
+    (XI (XO (XO (XO (XO (XO (XO XH)))))))))))))))))))) :: ((Npos (XO (XI (XI
+    (XO (XO (XI (XO (XO (XI (XI (XI (XI (XI (XI (XO (XI (XO (XI (XO
+    XH)))))))))))))))))))) :: ((Npos (XI (XI (XO (XI (XI (XI (XI (XO (XO (XO
+    (XI (XO (XI (XO (XO (XO (XO (XO (XI XH)))))))))))))))))))) :: ((Npos (XO
+    (XO (XO (XI (XO (XO (XI (XO (XI (XO (XO (XO (XO (XI (XI (XI (XO (XO (XI
+    XH)))))))))))))))))))) :: ((Npos (XI (XO (XO (XO (XI (XO (XI (XI (XI (XO
+    (XO (XI (XO (XI (XI (XO (XI (XO (XI XH)))))))))))))))))))) :: ((Npos (XI
+    (XI (XI (XO (XI (XO (XI (XO (XI (XI (XO (XI (XO (XO (XI (XI (XI (XO (XI
+    XH)))))))))))))))))))) :: ((Npos (XI (XI (XO (XI (XI (XI (XI (XO (XO (XO
+    (XI (XO (XI (XO (XO (XO (XO (XI (XI XH)))))))))))))))))))) :: ((Npos (XI
+    (XI (XI (XI (XI (XO (XI (XO (XI (XO (XI (XI (XO (XO (XI (XO (XO (XI (XI
+    XH)))))))))))))))))))) :: ((Npos (XO (XI (XO (XO (XO (XI (XI (XI (XO (XI
+    (XO (XI (XI (XI (XI (XO (XO (XI (XI XH)))))))))))))))))))) :: ((Npos (XO
+    (XI (XI (XI (XI (XO (XO (XO (XO (XO (XO (XO (XO (XI (XO (XI (XO (XI (XI
+    XH)))))))))))))))))))) :: ((Npos (XO (XI (XI (XO (XO (XI (XO (XO (XI (XI
+    (XI (XI (XI (XI (XO (XI (XO (XI (XI XH)))))))))))))))))))) :: ((Npos (XO
+    (XO (XO (XI (XO (XI (XI (XO (XI (XO (XO (XI (XI (XO (XI (XI (XO (XI (XI
+    XH)))))))))))))))))))) :: ((Npos (XI (XO (XO (XI (XO (XI (XI (XI (XI (XI
+    (XI (XI (XO (XI (XI (XI (XO (XI (XI XH)))))))))))))))))))) :: ((Npos (XO
+    (XI (XO (XI (XO (XI (XI (XO (XI (XI (XO (XO (XO (XO (XO (XO (XI (XI (XI
+    XH)))))))))))))))))))) :: ((Npos (XI (XI (XO (XI (XI (XI (XI (XO (XO (XO
+    (XI (XO (XI (XO (XO (XO (XI (XI (XI XH)))))))))))))))))))) :: ((Npos (XO
+    (XI (XO (XI (XO (XO (XO (XI (XI (XI (XO (XO (XO (XI (XO (XO (XI (XI (XI
+    XH)))))))))))))))))))) :: ((Npos (XI (XO (XI (XI (XO (XI (XI (XI (XO (XO
+    (XO (XO (XI (XI (XO (XO (XI (XI (XI XH)))))))))))))))))))) :: ((Npos (XI
+    (XI (XI (XO (XO (XI (XI (XI (XO (XO (XI (XI (XI (XI (XO (XO (XI (XI (XI
+    XH)))))))))))))))))))) :: ((Npos (XI (XI (XI (XI (XO (XI (XO (XI (XI (XI
+    (XI (XO (XO (XO (XI (XO (XI (XI (XI XH)))))))))))))))))))) :: ((Npos (XI
+    (XI (XI (XI (XO (XI (XI (XO (XI (XO (XO (XO (XI (XO (XI (XO (XI (XI (XI
+    XH)))))))))))))))))))) :: ((Npos (XI (XO (XI (XI (XO (XO (XI (XO (XO (XI
+    (XO (XI (XI (XO (XI (XO (XI (XI (XI XH)))))))))))))))))))) :: ((Npos (XI
+    (XO (XI (XO (XO (XI (XI (XO (XO (XI (XO (XO (XO (XI (XI (XO (XI (XI (XI
+    XH)))))))))))))))))))) :: ((Npos (XI (XO (XO (XO (XI (XO (XI (XI (XI (XO
+    (XO (XI (XO (XI (XI (XO (XI (XI (XI XH)))))))))))))))))))) :: ((Npos (XO
+    (XO (XI (XO (XO (XI (XO (XI (XO (XO (XO (XO (XI (XI (XI (XO (XI (XI (XI
+    XH)))))))))))))))))))) :: ((Npos (XO (XI (XO (XO (XI (XI (XI (XI (XO (XI
+    (XI (XO (XI (XI (XI (XO (XI (XI (XI XH)))))))))))))))))))) :: ((Npos (XI
+    (XI (XI (XO (XO (XO (XI (XI (XO (XO (XI (XI (XI (XI (XI (XO (XI (XI (XI
+    XH)))))))))))))))))))) :: ((Npos (XO (XI (XO (XO (XI (XI (XO (XO (XO (XI
+    (XO (XO (XO (XO (XO (XI (XI (XI (XI XH)))))))))))))))))))) :: ((Npos (XO
+    (XI (XI (XI (XI (XI (XO (XO (XI (XI (XI (XO (XO (XO (XO (XI (XI (XI (XI
+    XH)))))))))))))))))))) :: ((Npos (XO (XO (XO (XO (XO (XO (XO (XO (XO (XO
+    (XO (XO (XO (XO (XO (XO (XO (XO (XO (XO
+    XH))))))))))))))))))))) :: []))))))))))))))))))))))))))))))
 
 (** val pOLY : n **)
 
@@ -779,10 +1032,10 @@ let payload_id_wire sbn esi =
 
 (** val oti_wire : n -> n -> n -> n -> n -> n list **)
 
-let oti_wire f t z nsub al =
+let oti_wire f t0 z nsub al =
   app (be (S (S (S (S (S O))))) f)
     (app (N0 :: [])
-      (app (be (S (S O)) t)
+      (app (be (S (S O)) t0)
         (app (z :: []) (app (be (S (S O)) nsub) (al :: [])))))
 
 (** val cdiv : n -> n -> n **)
@@ -792,15 +1045,15 @@ let cdiv a b =
 
 (** val oti_validb : n -> n -> n -> n -> bool **)
 
-let oti_validb f t z al =
+let oti_validb f t0 z al =
   (&&)
     ((&&)
       (N.leb f (Npos (XI (XI (XO (XO (XI (XO (XI (XO (XI (XO (XO (XI (XO (XO
         (XO (XI (XI (XO (XO (XO (XI (XO (XI (XI (XI (XO (XI (XO (XI (XI (XI
         (XO (XI (XI (XO (XI (XI (XO (XI
         XH)))))))))))))))))))))))))))))))))))))))))
-      (N.eqb (N.modulo t al) N0))
-    (N.leb (cdiv (cdiv f t) z) (Npos (XI (XI (XO (XO (XI (XO (XI (XO (XO (XO
+      (N.eqb (N.modulo t0 al) N0))
+    (N.leb (cdiv (cdiv f t0) z) (Npos (XI (XI (XO (XO (XI (XO (XI (XO (XO (XO
       (XI (XI (XI (XO (XI XH)))))))))))))))))
 
 (** val oCT_EXP : n list **)
@@ -1305,6 +1558,32 @@ let exp_at i =
 let log_at a =
   nth_ok oCT_LOG (N.to_nat a)
 
+(** val expN : n -> n **)
+
+let expN i =
+  nth (N.to_nat i) oCT_EXP N0
+
+(** val logN : n -> n **)
+
+let logN a =
+  nth (N.to_nat a) oCT_LOG N0
+
+(** val mulN : n -> n -> n **)
+
+let mulN a b =
+  if (||) (N.eqb a N0) (N.eqb b N0)
+  then N0
+  else expN (N.add (logN a) (logN b))
+
+(** val divN : n -> n -> n **)
+
+let divN a b =
+  if N.eqb a N0
+  then N0
+  else expN
+         (N.sub (N.add (Npos (XI (XI (XI (XI (XI (XI (XI XH)))))))) (logN a))
+           (logN b))
+
 (** val oct_add : n -> n -> n **)
 
 let oct_add =
@@ -1452,8 +1731,8 @@ let octet_mul_hi_table =
 
 (** val tbl2 : n list list -> n -> n -> n outcome **)
 
-let tbl2 t i j =
-  obind (nth_ok t (N.to_nat i)) (fun r -> nth_ok r (N.to_nat j))
+let tbl2 t0 i j =
+  obind (nth_ok t0 (N.to_nat i)) (fun r -> nth_ok r (N.to_nat j))
 
 (** val pid_new : n -> n -> (n * n) outcome **)
 
@@ -1528,7 +1807,7 @@ let oti_ser = function
 | (p, al) ->
   let (p0, nsub) = p in
   let (p1, z) = p0 in
-  let (f, t) = p1 in
+  let (f, t0) = p1 in
   (u8
     (N.coq_land (N.shiftr f (Npos (XO (XO (XO (XO (XO XH))))))) (Npos (XI (XI
       (XI (XI (XI (XI (XI XH)))))))))) :: ((u8
@@ -1544,10 +1823,10 @@ let oti_ser = function
                                              XH))))) (Npos (XI (XI (XI (XI
                                            (XI (XI (XI XH)))))))))) :: (
   (u8 (N.coq_land f (Npos (XI (XI (XI (XI (XI (XI (XI XH)))))))))) :: (N0 :: (
-  (u8 (N.shiftr t (Npos (XO (XO (XO XH)))))) :: ((u8
-                                                   (N.coq_land t (Npos (XI
-                                                     (XI (XI (XI (XI (XI (XI
-                                                     XH)))))))))) :: (z :: (
+  (u8 (N.shiftr t0 (Npos (XO (XO (XO XH)))))) :: ((u8
+                                                    (N.coq_land t0 (Npos (XI
+                                                      (XI (XI (XI (XI (XI (XI
+                                                      XH)))))))))) :: (z :: (
   (u8 (N.shiftr nsub (Npos (XO (XO (XO XH)))))) :: ((u8
                                                       (N.coq_land nsub (Npos
                                                         (XI (XI (XI (XI (XI
@@ -1633,16 +1912,16 @@ let int_div_ceil_pinned num den =
 (** val oti_new_gen :
     (n -> n -> n) -> mode -> n -> n -> n -> n -> n -> oti outcome **)
 
-let oti_new_gen idc _ f t z nsub al =
+let oti_new_gen idc _ f t0 z nsub al =
   obind (assert_ok (N.leb f mAX_TRANSFER_LENGTH)) (fun _ ->
-    obind (rem_ok t al) (fun r ->
+    obind (rem_ok t0 al) (fun r ->
       obind (assert_ok (N.eqb r N0)) (fun _ ->
         obind
-          (if (&&) (negb (N.eqb t N0)) (negb (N.eqb z N0))
-           then let symbols_required = idc (idc f t) z in
+          (if (&&) (negb (N.eqb t0 N0)) (negb (N.eqb z N0))
+           then let symbols_required = idc (idc f t0) z in
                 assert_ok
                   (N.leb symbols_required mAX_SOURCE_SYMBOLS_PER_BLOCK)
-           else Ok ()) (fun _ -> Ok ((((f, t), z), nsub), al)))))
+           else Ok ()) (fun _ -> Ok ((((f, t0), z), nsub), al)))))
 
 (** val oti_new_pinned : mode -> n -> n -> n -> n -> n -> oti outcome **)
 
@@ -1663,7 +1942,7 @@ let oti_new =
 
 let rec assoc_get k = function
 | [] -> None
-| p :: t -> let (k', v) = p in if N.eqb k' k then Some v else assoc_get k t
+| p :: t0 -> let (k', v) = p in if N.eqb k' k then Some v else assoc_get k t0
 
 (** val assoc_remove : n -> (n * 'a1) list -> (n * 'a1) list **)
 
@@ -1674,9 +1953,9 @@ let assoc_remove k l =
 
 let rec assoc_insert k v = function
 | [] -> (k, v) :: []
-| p :: t ->
+| p :: t0 ->
   let (k', v') = p in
-  if N.eqb k' k then (k, v) :: t else (k', v') :: (assoc_insert k v t)
+  if N.eqb k' k then (k, v) :: t0 else (k', v') :: (assoc_insert k v t0)
 
 (** val keys : (n * 'a1) list -> n list **)
 
@@ -1690,18 +1969,18 @@ type 'plan pc =
 
 (** val get_pc : nat -> (nat * 'a1 pc) list -> 'a1 pc **)
 
-let rec get_pc t = function
+let rec get_pc t0 = function
 | [] -> Idle
-| p :: r -> let (t', c) = p in if Nat.eqb t' t then c else get_pc t r
+| p :: r -> let (t', c) = p in if Nat.eqb t' t0 then c else get_pc t0 r
 
 (** val set_pc :
     nat -> 'a1 pc -> (nat * 'a1 pc) list -> (nat * 'a1 pc) list **)
 
-let rec set_pc t c = function
-| [] -> (t, c) :: []
+let rec set_pc t0 c = function
+| [] -> (t0, c) :: []
 | p :: r ->
   let (t', c') = p in
-  if Nat.eqb t' t then (t, c) :: r else (t', c') :: (set_pc t c r)
+  if Nat.eqb t' t0 then (t0, c) :: r else (t', c') :: (set_pc t0 c r)
 
 type 'plan sysstate = { plans : (n * 'plan) list; order : n list;
                         threads : (nat * 'plan pc) list }
@@ -1722,24 +2001,24 @@ let init =
 (** val do_lookup :
     nat -> n -> 'a1 sysstate -> 'a1 sysstate * 'a1 event list **)
 
-let do_lookup t k st =
-  match get_pc t st.threads with
+let do_lookup t0 k st =
+  match get_pc t0 st.threads with
   | Idle ->
     (match assoc_get k st.plans with
-     | Some p -> (st, ((Ret (t, k, p)) :: []))
+     | Some p -> (st, ((Ret (t0, k, p)) :: []))
      | None ->
        ({ plans = st.plans; order = st.order; threads =
-         (set_pc t (Missed k) st.threads) }, []))
+         (set_pc t0 (Missed k) st.threads) }, []))
   | _ -> (st, [])
 
 (** val do_generate :
     (n -> 'a1) -> nat -> 'a1 sysstate -> 'a1 sysstate * 'a1 event list **)
 
-let do_generate gen t st =
-  match get_pc t st.threads with
+let do_generate gen t0 st =
+  match get_pc t0 st.threads with
   | Missed k ->
     ({ plans = st.plans; order = st.order; threads =
-      (set_pc t (Generated (k, (gen k))) st.threads) }, [])
+      (set_pc t0 (Generated (k, (gen k))) st.threads) }, [])
   | _ -> (st, [])
 
 (** val evict : nat -> (n * 'a1) list -> n list -> (n * 'a1) list * n list **)
@@ -1754,17 +2033,17 @@ let evict capacity pl ord =
 (** val do_insert :
     nat -> nat -> 'a1 sysstate -> 'a1 sysstate * 'a1 event list **)
 
-let do_insert capacity t st =
-  match get_pc t st.threads with
+let do_insert capacity t0 st =
+  match get_pc t0 st.threads with
   | Generated (k, p) ->
     (match assoc_get k st.plans with
      | Some p' ->
        ({ plans = st.plans; order = st.order; threads =
-         (set_pc t Idle st.threads) }, ((Ret (t, k, p')) :: []))
+         (set_pc t0 Idle st.threads) }, ((Ret (t0, k, p')) :: []))
      | None ->
        let (pl1, ord1) = evict capacity st.plans st.order in
        ({ plans = (assoc_insert k p pl1); order = (app ord1 (k :: []));
-       threads = (set_pc t Idle st.threads) }, ((Ret (t, k, p)) :: [])))
+       threads = (set_pc t0 Idle st.threads) }, ((Ret (t0, k, p)) :: [])))
   | _ -> (st, [])
 
 (** val exec :
@@ -1772,15 +2051,15 @@ let do_insert capacity t st =
 
 let exec gen capacity s st =
   match s with
-  | Lookup (t, k) -> do_lookup t k st
-  | Generate t -> do_generate gen t st
-  | Insert t -> do_insert capacity t st
+  | Lookup (t0, k) -> do_lookup t0 k st
+  | Generate t0 -> do_generate gen t0 st
+  | Insert t0 -> do_insert capacity t0 st
 
 (** val insert_sorted : n -> n list -> n list **)
 
 let rec insert_sorted x l = match l with
 | [] -> x :: []
-| y :: t -> if N.leb x y then x :: l else y :: (insert_sorted x t)
+| y :: t0 -> if N.leb x y then x :: l else y :: (insert_sorted x t0)
 
 (** val sort_N : n list -> n list **)
 
@@ -1791,16 +2070,16 @@ let sort_N l =
 
 let decode_step = function
 | (p, k) ->
-  let (t, kind) = p in
+  let (t0, kind) = p in
   (match kind with
-   | N0 -> Some (Lookup ((N.to_nat t), k))
+   | N0 -> Some (Lookup ((N.to_nat t0), k))
    | Npos p0 ->
      (match p0 with
       | XI _ -> None
       | XO p1 -> (match p1 with
-                  | XH -> Some (Insert (N.to_nat t))
+                  | XH -> Some (Insert (N.to_nat t0))
                   | _ -> None)
-      | XH -> Some (Generate (N.to_nat t))))
+      | XH -> Some (Generate (N.to_nat t0))))
 
 (** val observe : n sysstate -> n event list -> n list **)
 
@@ -1831,6 +2110,9680 @@ let rec cache_trace_from capacity sched st =
 
 let cache_trace capacity sched =
   cache_trace_from capacity sched init
+
+(** val vadd : n list -> n list -> n list **)
+
+let rec vadd u v =
+  match u with
+  | [] -> []
+  | x :: u' ->
+    (match v with
+     | [] -> []
+     | y :: v' -> (N.coq_lxor x y) :: (vadd u' v'))
+
+(** val vzero : nat -> n list **)
+
+let vzero n0 =
+  repeat N0 n0
+
+(** val vec_eqb : n list -> n list -> bool **)
+
+let rec vec_eqb u v =
+  match u with
+  | [] -> (match v with
+           | [] -> true
+           | _ :: _ -> false)
+  | x :: u' ->
+    (match v with
+     | [] -> false
+     | y :: v' -> (&&) (N.eqb x y) (vec_eqb u' v'))
+
+(** val map2 : ('a1 -> 'a2 -> 'a3) -> 'a1 list -> 'a2 list -> 'a3 list **)
+
+let rec map2 f l m =
+  match l with
+  | [] -> []
+  | a :: l' -> (match m with
+                | [] -> []
+                | b :: m' -> (f a b) :: (map2 f l' m'))
+
+(** val vscale : (n -> n -> n) -> n -> n list -> n list **)
+
+let vscale mul0 c v =
+  map (mul0 c) v
+
+(** val lincomb : (n -> n -> n) -> nat -> n list -> n list list -> n list **)
+
+let rec lincomb mul0 t0 r c =
+  match r with
+  | [] -> vzero t0
+  | a :: r' ->
+    (match c with
+     | [] -> vzero t0
+     | c0 :: c' -> vadd (vscale mul0 a c0) (lincomb mul0 t0 r' c'))
+
+(** val pick_row : n list list -> (n list * n list list) option **)
+
+let rec pick_row = function
+| [] -> None
+| r :: a' ->
+  if N.eqb (hd N0 r) N0
+  then (match pick_row a' with
+        | Some p0 -> let (p, r0) = p0 in Some (p, (r :: r0))
+        | None -> None)
+  else Some (r, a')
+
+(** val pick_rhs : n list list -> n list list -> n list * n list list **)
+
+let rec pick_rhs a d =
+  match a with
+  | [] -> ([], d)
+  | r :: a' ->
+    if N.eqb (hd N0 r) N0
+    then let (dp, r0) = pick_rhs a' (tl d) in (dp, ((hd [] d) :: r0))
+    else ((hd [] d), (tl d))
+
+(** val elim_coef : (n -> n -> n) -> (n -> n) -> n list -> n list -> n **)
+
+let elim_coef mul0 inv p r =
+  mul0 (hd N0 r) (inv (hd N0 p))
+
+(** val elim_row : (n -> n -> n) -> (n -> n) -> n list -> n list -> n list **)
+
+let elim_row mul0 inv p r =
+  vadd (tl r) (vscale mul0 (elim_coef mul0 inv p r) (tl p))
+
+(** val elim_rhs :
+    (n -> n -> n) -> (n -> n) -> n list -> n list -> n list -> n list -> n
+    list **)
+
+let elim_rhs mul0 inv p dp r d =
+  vadd d (vscale mul0 (elim_coef mul0 inv p r) dp)
+
+(** val gauss_solve :
+    (n -> n -> n) -> (n -> n) -> nat -> nat -> n list list -> n list list ->
+    n list list option **)
+
+let rec gauss_solve mul0 inv t0 l a d =
+  match l with
+  | O -> Some []
+  | S l' ->
+    (match pick_row a with
+     | Some p0 ->
+       let (p, r) = p0 in
+       let (dp, rD) = pick_rhs a d in
+       (match gauss_solve mul0 inv t0 l' (map (elim_row mul0 inv p) r)
+                (map2 (elim_rhs mul0 inv p dp) r rD) with
+        | Some y ->
+          Some
+            ((vscale mul0 (inv (hd N0 p))
+               (vadd dp (lincomb mul0 t0 (tl p) y))) :: y)
+        | None -> None)
+     | None -> None)
+
+type cfg = { cF : n; cT : n; cZ : n; cN : n; cAl : n }
+
+(** val ceil : n -> n -> n **)
+
+let ceil a b =
+  N.div (N.add a (N.sub b (Npos XH))) b
+
+(** val floor : n -> n -> n **)
+
+let floor =
+  N.div
+
+(** val partition : n -> n -> ((n * n) * n) * n **)
+
+let partition i j =
+  let iL = ceil i j in
+  let iS = floor i j in
+  let jL = N.sub i (N.mul iS j) in let jS = N.sub j jL in (((iL, iS), jL), jS)
+
+(** val q1 : (((n * n) * n) * n) -> n **)
+
+let q1 = function
+| (p0, _) -> let (p1, _) = p0 in let (a, _) = p1 in a
+
+(** val q2 : (((n * n) * n) * n) -> n **)
+
+let q2 = function
+| (p0, _) -> let (p1, _) = p0 in let (_, b) = p1 in b
+
+(** val q3 : (((n * n) * n) * n) -> n **)
+
+let q3 = function
+| (p0, _) -> let (_, x) = p0 in x
+
+(** val sumN : n list -> n **)
+
+let sumN l =
+  fold_right N.add N0 l
+
+(** val kt : cfg -> n **)
+
+let kt c =
+  ceil c.cF c.cT
+
+(** val kL : cfg -> n **)
+
+let kL c =
+  q1 (partition (kt c) c.cZ)
+
+(** val kS : cfg -> n **)
+
+let kS c =
+  q2 (partition (kt c) c.cZ)
+
+(** val zL : cfg -> n **)
+
+let zL c =
+  q3 (partition (kt c) c.cZ)
+
+(** val tL : cfg -> n **)
+
+let tL c =
+  q1 (partition (N.div c.cT c.cAl) c.cN)
+
+(** val tS : cfg -> n **)
+
+let tS c =
+  q2 (partition (N.div c.cT c.cAl) c.cN)
+
+(** val nL : cfg -> n **)
+
+let nL c =
+  q3 (partition (N.div c.cT c.cAl) c.cN)
+
+(** val blk_K : cfg -> n -> n **)
+
+let blk_K c j =
+  if N.ltb j (zL c) then kL c else kS c
+
+(** val blk_off : cfg -> n -> n **)
+
+let blk_off c j =
+  N.mul c.cT (sumN (map (blk_K c) (rangeN (N.to_nat j))))
+
+(** val obj_byte : n list -> n -> n **)
+
+let obj_byte data i =
+  nth (N.to_nat i) data N0
+
+(** val blk_byte : cfg -> n list -> n -> n -> n **)
+
+let blk_byte c data j i =
+  obj_byte data (N.add (blk_off c j) i)
+
+(** val sub_len : cfg -> n -> n **)
+
+let sub_len c s =
+  if N.ltb s (nL c) then N.mul (tL c) c.cAl else N.mul (tS c) c.cAl
+
+(** val sub_off : cfg -> n -> n -> n **)
+
+let sub_off c j s =
+  N.mul (blk_K c j) (sumN (map (sub_len c) (rangeN (N.to_nat s))))
+
+(** val sub_symbol : cfg -> n list -> n -> n -> n -> n list **)
+
+let sub_symbol c data j s m =
+  map (fun i ->
+    blk_byte c data j
+      (N.add (N.add (sub_off c j s) (N.mul m (sub_len c s))) i))
+    (rangeN (N.to_nat (sub_len c s)))
+
+(** val symbol : cfg -> n list -> n -> n -> n list **)
+
+let symbol c data j m =
+  concat (map (fun s -> sub_symbol c data j s m) (rangeN (N.to_nat c.cN)))
+
+(** val source_packets_spec : cfg -> n list -> ((n * n) * n list) list **)
+
+let source_packets_spec c data =
+  concat
+    (map (fun j ->
+      map (fun m -> ((j, m), (symbol c data j m)))
+        (rangeN (N.to_nat (blk_K c j)))) (rangeN (N.to_nat c.cZ)))
+
+(** val rFC_V0 : n list **)
+
+let rFC_V0 =
+  (Npos (XO (XO (XO (XO (XO (XO (XO (XO (XO (XI (XI (XO (XO (XI (XI (XO (XO
+    (XI (XO (XI (XI (XI (XI (XI (XO (XI (XI
+    XH)))))))))))))))))))))))))))) :: ((Npos (XI (XI (XI (XI (XO (XO (XI (XI
+    (XO (XO (XI (XO (XO (XO (XI (XO (XO (XI (XO (XO (XI (XO (XO (XI (XI (XI
+    (XO (XI (XO (XI (XI XH)))))))))))))))))))))))))))))))) :: ((Npos (XO (XO
+    (XI (XO (XO (XI (XO (XO (XI (XI (XI (XI (XI (XI (XO (XI (XO (XO (XI (XI
+    (XO (XI (XI (XI (XO (XO (XO (XI (XO (XO (XI
+    XH)))))))))))))))))))))))))))))))) :: ((Npos (XO (XO (XO (XO (XO (XO (XO
+    (XI (XI (XO (XI (XO (XI (XO (XI (XI (XI (XO (XO (XI (XI (XO (XO (XI (XO
+    (XI (XO (XO (XI (XI (XI XH)))))))))))))))))))))))))))))))) :: ((Npos (XI
+    (XI (XI (XO (XO (XO (XO (XI (XI (XI (XI (XO (XI (XI (XI (XO (XO (XI (XI
+    (XI (XI (XO (XI (XO (XI (XI XH))))))))))))))))))))))))))) :: ((Npos (XI
+    (XI (XO (XI (XO (XO (XO (XI (XO (XI (XO (XO (XO (XI (XI (XI (XI (XO (XI
+    (XI (XI (XI (XO (XI (XI (XI (XI (XO (XO (XO (XI
+    XH)))))))))))))))))))))))))))))))) :: ((Npos (XI (XO (XO (XI (XO (XO (XI
+    (XI (XO (XI (XO (XI (XI (XO (XO (XO (XI (XO (XO (XI (XI (XO (XI (XI (XI
+    (XI (XI (XI (XI (XI (XO XH)))))))))))))))))))))))))))))))) :: ((Npos (XI
+    (XI (XO (XO (XI (XI (XO (XI (XI (XO (XO (XI (XI (XI (XO (XO (XI (XI (XI
+    (XO (XO (XI (XI (XI (XI (XI (XI (XO (XI (XI
+    XH))))))))))))))))))))))))))))))) :: ((Npos (XO (XI (XO (XO (XI (XO (XI
+    (XI (XI (XO (XO (XO (XO (XO (XO (XI (XI (XI (XO (XI (XO (XI (XO (XO (XO
+    (XI (XI (XI (XO XH)))))))))))))))))))))))))))))) :: ((Npos (XI (XO (XI
+    (XO (XO (XO (XI (XO (XI (XO (XI (XO (XO (XI (XI (XI (XI (XI (XI (XO (XI
+    (XI (XO (XO (XI (XI (XI (XI (XO (XO (XO
+    XH)))))))))))))))))))))))))))))))) :: ((Npos (XO (XI (XO (XO (XI (XO (XI
+    (XO (XO (XO (XI (XI (XO (XI (XI (XO (XI (XO (XI (XI (XI (XO (XI (XI (XI
+    (XI (XO (XI (XI XH)))))))))))))))))))))))))))))) :: ((Npos (XI (XO (XO
+    (XO (XI (XI (XO (XI (XO (XI (XO (XI (XO (XI (XI (XO (XO (XO (XO (XI (XO
+    (XI (XI (XI (XI (XO (XI (XI (XO (XI
+    XH))))))))))))))))))))))))))))))) :: ((Npos (XO (XO (XI (XI (XI (XI (XI
+    (XI (XI (XI (XO (XI (XI (XO (XI (XO (XO (XO (XO (XO (XI (XO (XO (XI (XI
+    (XO (XO (XI XH))))))))))))))))))))))))))))) :: ((Npos (XO (XO (XO (XO (XI
+    (XO (XI (XO (XI (XO (XI (XI (XI (XI (XI (XO (XO (XO (XI (XI (XO (XO (XI
+    (XO (XI (XI (XI (XI (XI (XO (XI
+    XH)))))))))))))))))))))))))))))))) :: ((Npos (XO (XO (XO (XI (XI (XO (XO
+    (XI (XI (XI (XO (XI (XO (XI (XO (XI (XO (XO (XO (XI (XI (XO (XI (XI (XO
+    (XI (XI (XI (XI (XO XH))))))))))))))))))))))))))))))) :: ((Npos (XI (XI
+    (XO (XI (XI (XI (XO (XO (XI (XO (XI (XO (XI (XI (XI (XI (XO (XI (XI (XI
+    (XO (XO (XI (XI (XO (XI (XI (XO (XI (XI (XO
+    XH)))))))))))))))))))))))))))))))) :: ((Npos (XI (XI (XI (XI (XI (XI (XO
+    (XI (XO (XI (XI (XO (XO (XO (XI (XI (XI (XI (XI (XI (XO (XI (XI (XO (XI
+    (XO (XI (XO (XI (XO XH))))))))))))))))))))))))))))))) :: ((Npos (XO (XI
+    (XO (XI (XI (XI (XI (XO (XI (XI (XO (XO (XO (XO (XO (XI (XO (XI (XO (XI
+    (XO (XO (XO (XO (XO (XI (XI (XI XH))))))))))))))))))))))))))))) :: ((Npos
+    (XI (XO (XI (XI (XO (XO (XO (XO (XO (XI (XI (XO (XO (XI (XI (XI (XI (XI
+    (XI (XO (XO (XI (XO (XO (XI (XO (XO (XI (XI (XI
+    XH))))))))))))))))))))))))))))))) :: ((Npos (XO (XO (XO (XI (XO (XI (XI
+    (XI (XI (XO (XI (XI (XO (XI (XO (XI (XO (XI (XI (XI (XO (XO (XI (XI (XI
+    (XI (XO (XI (XO (XO (XI XH)))))))))))))))))))))))))))))))) :: ((Npos (XO
+    (XI (XI (XO (XO (XI (XI (XI (XI (XI (XI (XI (XI (XO (XI (XO (XI (XI (XO
+    (XI (XI (XI (XO (XO (XI (XI (XI (XO (XO (XI (XO
+    XH)))))))))))))))))))))))))))))))) :: ((Npos (XO (XI (XO (XI (XI (XI (XI
+    (XO (XO (XI (XI (XI (XO (XI (XI (XO (XI (XI (XO (XI (XO (XI (XI (XI (XO
+    (XO (XO (XI (XI (XI (XO XH)))))))))))))))))))))))))))))))) :: ((Npos (XO
+    (XI (XO (XO (XI (XI (XO (XI (XI (XO (XI (XO (XI (XI (XO (XI (XI (XI (XO
+    (XO (XO (XO (XO (XO (XI (XI (XO (XO (XO (XI (XI
+    XH)))))))))))))))))))))))))))))))) :: ((Npos (XI (XI (XO (XI (XI (XI (XI
+    (XI (XO (XO (XI (XI (XI (XO (XO (XO (XI (XI (XO (XI (XI (XO (XO (XO (XI
+    (XO (XI (XO (XI (XO (XO XH)))))))))))))))))))))))))))))))) :: ((Npos (XI
+    (XO (XI (XO (XO (XI (XO (XI (XI (XI (XI (XI (XI (XO (XI (XI (XI (XO (XO
+    (XI (XO (XI (XO (XO (XI (XO (XI (XI (XO (XI (XI
+    XH)))))))))))))))))))))))))))))))) :: ((Npos (XI (XO (XI (XI (XO (XI (XO
+    (XO (XI (XO (XI (XO (XI (XO (XI (XO (XO (XI (XO (XI (XO (XI (XO (XI (XO
+    (XI (XI XH)))))))))))))))))))))))))))) :: ((Npos (XI (XI (XO (XI (XI (XI
+    (XO (XO (XI (XO (XO (XO (XO (XO (XO (XO (XI (XO (XI (XI (XO (XI (XI (XO
+    (XI (XI (XI (XI (XO (XI (XI XH)))))))))))))))))))))))))))))))) :: ((Npos
+    (XO (XO (XO (XI (XI (XI (XI (XI (XO (XO (XI (XI (XO (XO (XI (XO (XO (XI
+    (XO (XI (XI (XI (XO (XI (XO (XI (XI (XO (XO
+    XH)))))))))))))))))))))))))))))) :: ((Npos (XO (XO (XI (XO (XI (XI (XI
+    (XI (XO (XI (XO (XI (XO (XI (XI (XI (XI (XI (XI (XO (XI (XI (XO (XI (XI
+    (XO (XI (XO (XI (XI XH))))))))))))))))))))))))))))))) :: ((Npos (XO (XI
+    (XI (XO (XO (XI (XO (XO (XO (XI (XO (XI (XI (XI (XO (XO (XI (XI (XI (XO
+    (XO (XO (XO (XO (XO (XI (XI (XI (XI (XO (XO
+    XH)))))))))))))))))))))))))))))))) :: ((Npos (XI (XO (XO (XO (XO (XO (XI
+    (XI (XO (XO (XO (XO (XI (XO (XO (XI (XI (XI (XO (XI (XO (XO (XO (XI (XO
+    (XO (XI (XI (XO (XO (XO XH)))))))))))))))))))))))))))))))) :: ((Npos (XO
+    (XO (XO (XI (XI (XI (XI (XI (XI (XO (XO (XI (XO (XO (XO (XI (XO (XI (XO
+    (XI (XI (XO (XO (XO (XI (XO (XO (XI (XO
+    XH)))))))))))))))))))))))))))))) :: ((Npos (XO (XO (XI (XO (XO (XO (XI
+    (XI (XI (XO (XO (XI (XI (XO (XI (XO (XO (XI (XO (XI (XO (XI (XO (XI (XO
+    (XI (XO (XI (XO XH)))))))))))))))))))))))))))))) :: ((Npos (XO (XI (XI
+    (XO (XO (XO (XO (XO (XO (XO (XO (XI (XO (XI (XO (XI (XI (XO (XO (XI (XO
+    (XO (XI (XO (XO (XI (XO (XO (XO (XI (XO
+    XH)))))))))))))))))))))))))))))))) :: ((Npos (XO (XO (XI (XO (XI (XI (XI
+    (XO (XO (XI (XO (XO (XO (XO (XI (XI (XO (XO (XO (XO (XI (XI (XI (XO (XI
+    (XI (XO XH)))))))))))))))))))))))))))) :: ((Npos (XI (XI (XO (XO (XI (XO
+    (XO (XI (XI (XO (XO (XO (XO (XO (XI (XI (XI (XI (XO (XI (XI (XI (XO (XI
+    (XO (XI (XO (XO (XI (XO (XI XH)))))))))))))))))))))))))))))))) :: ((Npos
+    (XI (XO (XO (XO (XI (XI (XO (XI (XI (XO (XO (XI (XI (XO (XI (XO (XI (XI
+    (XO (XO (XI (XO (XI (XO (XI (XI (XO (XO (XO (XO (XI
+    XH)))))))))))))))))))))))))))))))) :: ((Npos (XI (XO (XI (XO (XO (XI (XI
+    (XO (XO (XI (XO (XO (XI (XO (XO (XO (XI (XO (XI (XO (XO (XI (XO (XI (XI
+    (XI (XI (XO (XI (XO XH))))))))))))))))))))))))))))))) :: ((Npos (XO (XI
+    (XI (XO (XO (XO (XO (XO (XO (XO (XO (XO (XO (XI (XI (XO (XO (XO (XI (XI
+    (XO (XO (XI (XO (XO (XO (XO (XO (XO (XI (XI
+    XH)))))))))))))))))))))))))))))))) :: ((Npos (XI (XI (XI (XI (XI (XO (XO
+    (XO (XO (XO (XO (XI (XO (XI (XO (XI (XO (XI (XO (XI (XO (XI (XO (XI (XO
+    (XO (XO (XO (XO (XO (XI XH)))))))))))))))))))))))))))))))) :: ((Npos (XI
+    (XI (XO (XI (XO (XI (XI (XO (XI (XO (XI (XO (XO (XO (XI (XO (XO (XO (XO
+    (XO (XI (XO (XI (XO (XI (XI XH))))))))))))))))))))))))))) :: ((Npos (XI
+    (XO (XI (XO (XI (XO (XI (XI (XO (XI (XI (XO (XI (XI (XI (XO (XI (XI (XO
+    (XO (XI (XI (XO (XI (XI (XO (XO (XI (XO (XI (XI
+    XH)))))))))))))))))))))))))))))))) :: ((Npos (XI (XI (XO (XO (XO (XI (XO
+    (XO (XO (XO (XI (XO (XO (XI (XO (XO (XO (XO (XO (XO (XO (XI (XO (XI (XO
+    (XI (XI (XI (XO XH)))))))))))))))))))))))))))))) :: ((Npos (XO (XI (XI
+    (XI (XI (XO (XI (XI (XO (XI (XI (XI (XI (XO (XO (XO (XO (XI (XI (XI (XO
+    (XI (XO (XO (XO (XI (XI (XO XH))))))))))))))))))))))))))))) :: ((Npos (XI
+    (XO (XI (XO (XI (XI (XI (XO (XI (XI (XO (XI (XO (XO (XI (XO (XI (XO (XI
+    (XI (XO (XO (XO (XI (XO (XI (XO (XO (XI (XI (XO
+    XH)))))))))))))))))))))))))))))))) :: ((Npos (XI (XI (XI (XI (XO (XO (XO
+    (XO (XO (XI (XO (XO (XO (XI (XI (XI (XO (XI (XI (XI (XO (XI (XI (XI (XI
+    (XO (XO (XI (XI (XI XH))))))))))))))))))))))))))))))) :: ((Npos (XO (XI
+    (XI (XO (XI (XI (XO (XO (XI (XO (XI (XI (XO (XI (XO (XO (XO (XI (XI (XI
+    (XO (XO (XO (XO (XI (XI (XO (XI (XO (XO (XO
+    XH)))))))))))))))))))))))))))))))) :: ((Npos (XI (XI (XI (XO (XO (XI (XO
+    (XI (XI (XI (XO (XO (XI (XO (XO (XO (XI (XO (XI (XI (XI (XI (XO (XI (XO
+    (XI (XI (XI (XO (XI (XI XH)))))))))))))))))))))))))))))))) :: ((Npos (XI
+    (XI (XO (XI (XI (XI (XI (XI (XI (XI (XO (XO (XO (XO (XO (XI (XI (XI (XI
+    (XO (XO (XO (XO (XO (XI (XO (XI XH)))))))))))))))))))))))))))) :: ((Npos
+    (XI (XI (XI (XI (XO (XO (XI (XI (XI (XI (XI (XO (XI (XO (XO (XI (XO (XI
+    (XO (XO (XI (XO (XO (XI (XI (XI (XO (XI (XO (XO (XI
+    XH)))))))))))))))))))))))))))))))) :: ((Npos (XO (XI (XI (XO (XO (XO (XO
+    (XI (XI (XI (XO (XO (XI (XO (XO (XO (XI (XI (XO (XI (XO (XO (XI (XI (XO
+    (XI (XO (XI (XI (XI (XI XH)))))))))))))))))))))))))))))))) :: ((Npos (XI
+    (XI (XI (XO (XO (XI (XI (XI (XO (XO (XI (XI (XI (XO (XO (XI (XI (XI (XO
+    (XO (XI (XO (XI (XO (XI (XI (XO (XO (XI
+    XH)))))))))))))))))))))))))))))) :: ((Npos (XI (XO (XI (XO (XI (XI (XO
+    (XO (XO (XI (XI (XO (XI (XO (XO (XO (XO (XO (XI (XO (XO (XI (XO (XO (XI
+    (XI (XO (XI (XI (XO (XI XH)))))))))))))))))))))))))))))))) :: ((Npos (XO
+    (XO (XO (XI (XO (XO (XO (XO (XO (XO (XO (XO (XI (XI (XO (XO (XI (XO (XO
+    (XO (XO (XI (XI (XI (XI (XO (XO (XI (XI (XO (XO
+    XH)))))))))))))))))))))))))))))))) :: ((Npos (XO (XO (XO (XO (XO (XO (XI
+    (XO (XI (XO (XO (XI (XI (XI (XI (XO (XO (XO (XI (XI (XO (XI (XI (XO (XI
+    (XO (XI (XO (XO (XO (XI XH)))))))))))))))))))))))))))))))) :: ((Npos (XI
+    (XI (XO (XO (XO (XI (XO (XO (XO (XO (XO (XI (XO (XO (XI (XI (XO (XI (XO
+    (XI (XI (XO (XO (XI (XO (XO (XO (XI (XO
+    XH)))))))))))))))))))))))))))))) :: ((Npos (XO (XI (XO (XO (XI (XI (XI
+    (XO (XI (XO (XO (XO (XO (XI (XO (XO (XI (XO (XO (XO (XI (XO (XI (XO (XO
+    (XI (XO (XO XH))))))))))))))))))))))))))))) :: ((Npos (XO (XO (XI (XO (XO
+    (XO (XO (XI (XO (XO (XI (XO (XI (XO (XI (XI (XI (XI (XI (XI (XI (XO (XO
+    (XO (XI (XO (XI (XO (XI (XI (XI
+    XH)))))))))))))))))))))))))))))))) :: ((Npos (XO (XI (XI (XI (XO (XO (XO
+    (XO (XI (XO (XO (XO (XO (XI (XI (XO (XI (XI (XI (XO (XO (XO (XO (XO (XI
+    (XO (XI (XO (XO (XO XH))))))))))))))))))))))))))))))) :: ((Npos (XO (XI
+    (XO (XI (XI (XO (XO (XO (XI (XO (XI (XO (XI (XI (XI (XI (XI (XO (XI (XO
+    (XO (XO (XI (XO (XO (XI (XO (XI (XO
+    XH)))))))))))))))))))))))))))))) :: ((Npos (XI (XO (XO (XO (XI (XO (XO
+    (XI (XI (XO (XI (XO (XI (XO (XO (XO (XI (XI (XI (XI (XI (XO (XI (XO (XO
+    (XI (XO (XO (XO (XI (XO XH)))))))))))))))))))))))))))))))) :: ((Npos (XI
+    (XI (XO (XI (XI (XI (XO (XO (XI (XI (XI (XO (XI (XI (XO (XI (XI (XI (XI
+    (XO (XO (XI (XI (XO (XO (XI (XO (XI (XI (XI (XI
+    XH)))))))))))))))))))))))))))))))) :: ((Npos (XI (XO (XO (XO (XI (XI (XI
+    (XI (XI (XO (XO (XI (XI (XO (XO (XI (XO (XI (XO (XI (XO (XO (XI (XO (XI
+    (XI (XO (XI (XI (XI (XI XH)))))))))))))))))))))))))))))))) :: ((Npos (XI
+    (XI (XO (XO (XO (XI (XI (XI (XI (XI (XO (XO (XI (XI (XI (XI (XO (XO (XI
+    (XO (XI (XO (XI (XO (XI (XO (XO (XO (XI (XI (XI
+    XH)))))))))))))))))))))))))))))))) :: ((Npos (XI (XO (XI (XO (XO (XO (XO
+    (XO (XO (XI (XO (XI (XI (XI (XI (XO (XI (XI (XO (XO (XI (XI (XO (XI (XO
+    (XO (XI (XO (XI (XI (XO XH)))))))))))))))))))))))))))))))) :: ((Npos (XO
+    (XI (XO (XO (XI (XO (XI (XO (XI (XO (XI (XO (XI (XO (XI (XO (XO (XI (XO
+    (XI (XO (XO (XI (XI (XI (XO (XO (XO (XI (XI
+    XH))))))))))))))))))))))))))))))) :: ((Npos (XI (XO (XO (XI (XO (XO (XI
+    (XO (XI (XI (XO (XO (XO (XO (XO (XO (XI (XO (XI (XO (XI (XI (XI (XO (XO
+    (XI (XI (XI XH))))))))))))))))))))))))))))) :: ((Npos (XO (XI (XO (XI (XI
+    (XI (XI (XO (XI (XO (XO (XO (XO (XI (XO (XI (XI (XO (XO (XI (XO (XI (XO
+    (XO (XI (XO (XO (XO (XI (XO XH))))))))))))))))))))))))))))))) :: ((Npos
+    (XI (XI (XO (XO (XI (XI (XI (XI (XO (XO (XO (XI (XI (XO (XO (XO (XO (XO
+    (XI (XO (XI (XI (XO (XI (XI (XI XH))))))))))))))))))))))))))) :: ((Npos
+    (XI (XI (XO (XO (XO (XO (XI (XO (XO (XO (XO (XI (XO (XI (XI (XI (XO (XO
+    (XI (XI (XO (XO (XI (XO (XI (XI (XO (XI (XI (XI (XO
+    XH)))))))))))))))))))))))))))))))) :: ((Npos (XI (XI (XO (XO (XI (XI (XO
+    (XO (XI (XI (XI (XI (XO (XI (XO (XI (XO (XO (XI (XI (XO (XI (XO (XO (XI
+    (XO (XO (XI (XI (XO (XO XH)))))))))))))))))))))))))))))))) :: ((Npos (XO
+    (XI (XI (XI (XO (XI (XO (XO (XO (XO (XO (XO (XO (XO (XO (XO (XO (XO (XI
+    (XI (XO (XO (XI (XI (XO (XO (XI (XO (XI (XI (XO
+    XH)))))))))))))))))))))))))))))))) :: ((Npos (XO (XI (XI (XO (XI (XI (XI
+    (XO (XI (XI (XI (XI (XI (XO (XI (XI (XO (XO (XI (XO (XI (XO (XI (XI (XO
+    (XI (XO (XO (XO (XI XH))))))))))))))))))))))))))))))) :: ((Npos (XO (XI
+    (XI (XI (XO (XI (XO (XO (XO (XO (XI (XI (XI (XO (XI (XI (XO (XI (XI (XI
+    (XO (XO (XO (XI (XI (XI (XI (XO (XI
+    XH)))))))))))))))))))))))))))))) :: ((Npos (XI (XO (XI (XI (XI (XI (XI
+    (XO (XO (XO (XO (XI (XI (XO (XI (XO (XI (XI (XI (XO (XO (XI (XO (XO (XO
+    (XI (XI (XO (XI (XI XH))))))))))))))))))))))))))))))) :: ((Npos (XI (XI
+    (XO (XO (XI (XO (XO (XO (XI (XI (XO (XI (XI (XI (XO (XO (XO (XI (XI (XI
+    (XO (XO (XI (XI (XI (XO (XO (XO (XI (XI (XO
+    XH)))))))))))))))))))))))))))))))) :: ((Npos (XO (XI (XO (XO (XO (XI (XO
+    (XO (XO (XI (XO (XI (XO (XI (XI (XO (XI (XO (XI (XO (XO (XO (XI (XO (XI
+    (XI (XO (XO (XI (XI (XO XH)))))))))))))))))))))))))))))))) :: ((Npos (XO
+    (XO (XO (XO (XO (XO (XI (XO (XI (XI (XI (XO (XO (XI (XI (XI (XI (XO (XI
+    (XO (XO (XO (XO (XI (XI (XO (XI (XI (XO (XO (XI
+    XH)))))))))))))))))))))))))))))))) :: ((Npos (XO (XI (XO (XO (XO (XO (XI
+    (XO (XI (XO (XO (XO (XI (XI (XO (XO (XI (XO (XO (XO (XO (XO (XI (XI (XO
+    (XO (XO (XI (XO XH)))))))))))))))))))))))))))))) :: ((Npos (XI (XO (XO
+    (XI (XO (XO (XI (XI (XI (XO (XI (XI (XI (XO (XI (XI (XI (XI (XO (XO (XO
+    (XI (XI (XO (XO (XI (XI (XI (XO
+    XH)))))))))))))))))))))))))))))) :: ((Npos (XI (XO (XI (XI (XO (XI (XI
+    (XO (XO (XO (XI (XO (XI (XI (XI (XI (XO (XO (XI (XO (XO (XI (XI (XO (XI
+    (XI (XO (XO (XI (XO XH))))))))))))))))))))))))))))))) :: ((Npos (XO (XO
+    (XI (XI (XI (XI (XO (XI (XI (XI (XO (XO (XI (XI (XI (XI (XO (XO (XO (XI
+    (XI (XO (XO (XI (XI (XI (XO (XO (XI (XI
+    XH))))))))))))))))))))))))))))))) :: ((Npos (XI (XI (XO (XO (XO (XO (XO
+    (XI (XO (XI (XI (XI (XO (XO (XO (XI (XO (XO (XI (XI (XI (XO (XI (XI (XO
+    (XO (XI (XO (XO (XI XH))))))))))))))))))))))))))))))) :: ((Npos (XO (XO
+    (XO (XO (XO (XO (XI (XI (XI (XI (XI (XI (XO (XO (XO (XI (XI (XO (XO (XO
+    (XI (XO (XO (XI (XO (XI (XI (XO (XO (XI (XI
+    XH)))))))))))))))))))))))))))))))) :: ((Npos (XO (XI (XO (XO (XI (XI (XI
+    (XO (XI (XO (XI (XO (XO (XO (XI (XO (XI (XO (XO (XI (XO (XO (XI (XI (XO
+    (XO (XI (XO (XI (XO XH))))))))))))))))))))))))))))))) :: ((Npos (XO (XI
+    (XO (XI (XI (XO (XO (XO (XO (XO (XI (XO (XO (XI (XI (XI (XI (XO (XO (XI
+    (XI (XO (XI (XO (XI (XI (XO (XO (XO
+    XH)))))))))))))))))))))))))))))) :: ((Npos (XI (XO (XO (XI (XO (XI (XO
+    (XI (XI (XO (XI (XI (XI (XO (XI (XI (XO (XI (XI (XI (XI (XI (XI (XI (XI
+    (XI (XI (XI (XO (XI XH))))))))))))))))))))))))))))))) :: ((Npos (XI (XO
+    (XI (XO (XI (XO (XI (XI (XI (XI (XO (XI (XO (XI (XO (XO (XO (XO (XI (XO
+    (XI (XO (XO (XI (XO (XI (XI (XO (XI (XO (XO
+    XH)))))))))))))))))))))))))))))))) :: ((Npos (XI (XI (XO (XI (XO (XO (XO
+    (XI (XO (XI (XI (XI (XO (XI (XI (XI (XI (XO (XI (XI (XI (XO (XI (XI (XO
+    (XI (XI (XI (XI (XO XH))))))))))))))))))))))))))))))) :: ((Npos (XO (XI
+    (XI (XO (XO (XO (XO (XO (XI (XO (XI (XO (XI (XI (XI (XI (XI (XI (XI (XO
+    (XI (XO (XO (XI (XI (XO (XI (XI (XO (XI (XI
+    XH)))))))))))))))))))))))))))))))) :: ((Npos (XI (XO (XO (XO (XI (XO (XO
+    (XI (XO (XO (XO (XI (XO (XO (XI (XI (XI (XI (XO (XI (XO (XO (XI (XO (XO
+    (XO (XI (XI (XO (XI (XI XH)))))))))))))))))))))))))))))))) :: ((Npos (XI
+    (XI (XI (XI (XI (XI (XI (XI (XO (XO (XO (XI (XO (XI (XI (XI (XO (XI (XO
+    (XO (XO (XI (XO (XI (XO (XO (XO (XO (XO (XI (XO
+    XH)))))))))))))))))))))))))))))))) :: ((Npos (XI (XI (XO (XI (XO (XI (XI
+    (XO (XI (XO (XI (XO (XI (XO (XI (XO (XI (XO (XO (XO (XO (XO (XI (XI (XI
+    (XI (XO (XO (XI (XI XH))))))))))))))))))))))))))))))) :: ((Npos (XI (XI
+    (XI (XI (XI (XO (XO (XI (XI (XO (XO (XI (XO (XI (XO (XO (XI (XI (XI (XI
+    (XO (XO (XI (XO (XI (XO (XO (XI XH))))))))))))))))))))))))))))) :: ((Npos
+    (XI (XI (XO (XO (XO (XO (XI (XI (XO (XO (XI (XO (XI (XI (XO (XI (XO (XO
+    (XI (XI (XO (XO (XI (XO (XO (XO (XO (XO (XI (XO
+    XH))))))))))))))))))))))))))))))) :: ((Npos (XO (XO (XI (XO (XO (XO (XI
+    (XO (XI (XI (XO (XO (XI (XI (XI (XO (XO (XO (XO (XI (XI (XO (XO (XO (XI
+    (XI (XI (XI (XI (XO (XO XH)))))))))))))))))))))))))))))))) :: ((Npos (XO
+    (XI (XO (XO (XI (XO (XO (XO (XO (XO (XI (XO (XO (XI (XI (XO (XO (XI (XO
+    (XI (XI (XO (XO (XO (XI (XO (XO (XO (XI (XO (XO
+    XH)))))))))))))))))))))))))))))))) :: ((Npos (XI (XI (XO (XI (XI (XO (XO
+    (XI (XI (XI (XI (XI (XO (XO (XO (XI (XI (XO (XO (XO (XI (XI (XI (XO (XI
+    (XI (XI (XO (XI (XO (XO XH)))))))))))))))))))))))))))))))) :: ((Npos (XO
+    (XO (XO (XO (XI (XO (XO (XI (XO (XI (XO (XI (XI (XI (XO (XO (XI (XI (XI
+    (XI (XI (XI (XI (XO (XO (XI (XO (XO (XI (XO
+    XH))))))))))))))))))))))))))))))) :: ((Npos (XI (XI (XO (XI (XI (XO (XO
+    (XO (XO (XO (XO (XI (XI (XO (XI (XI (XO (XO (XO (XI (XO (XO (XI (XI (XI
+    (XO (XI (XO (XI (XI (XI XH)))))))))))))))))))))))))))))))) :: ((Npos (XO
+    (XI (XO (XI (XO (XO (XI (XI (XO (XO (XI (XI (XI (XO (XI (XO (XI (XO (XO
+    (XO (XI (XO (XI (XI (XO (XI (XO (XI (XI (XO
+    XH))))))))))))))))))))))))))))))) :: ((Npos (XI (XO (XO (XO (XO (XI (XO
+    (XI (XI (XO (XI (XI (XO (XO (XO (XO (XO (XO (XO (XO (XI (XI (XI (XO (XI
+    (XO (XO (XO (XO (XI (XO XH)))))))))))))))))))))))))))))))) :: ((Npos (XI
+    (XO (XO (XO (XI (XO (XO (XI (XI (XO (XI (XO (XI (XI (XI (XO (XO (XO (XI
+    (XO (XO (XI (XI (XO (XO (XI (XI (XI (XI
+    XH)))))))))))))))))))))))))))))) :: ((Npos (XO (XO (XO (XO (XI (XI (XO
+    (XI (XO (XO (XI (XI (XI (XI (XI (XI (XI (XI (XI (XO (XO (XI (XI (XI (XO
+    (XO (XI (XO (XO (XO (XO XH)))))))))))))))))))))))))))))))) :: ((Npos (XO
+    (XO (XI (XO (XI (XI (XO (XO (XO (XI (XO (XI (XO (XO (XI (XO (XO (XO (XI
+    (XO (XI (XO (XI (XI (XO (XI (XO (XI (XO (XO
+    XH))))))))))))))))))))))))))))))) :: ((Npos (XI (XO (XO (XO (XI (XI (XI
+    (XO (XI (XO (XI (XO (XO (XI (XI (XO (XI (XI (XI (XO (XO (XI (XO (XO (XI
+    (XI (XO (XI (XI (XI (XI XH)))))))))))))))))))))))))))))))) :: ((Npos (XI
+    (XI (XO (XI (XI (XO (XO (XI (XO (XO (XI (XI (XO (XO (XI (XI (XI (XO (XI
+    (XI (XO (XI (XO (XI (XO (XI (XO (XI (XI (XO
+    XH))))))))))))))))))))))))))))))) :: ((Npos (XI (XO (XO (XO (XO (XI (XO
+    (XO (XI (XO (XO (XI (XI (XO (XI (XI (XO (XI (XI (XI (XO (XO (XI (XO (XI
+    (XO (XI (XO (XI (XI (XO XH)))))))))))))))))))))))))))))))) :: ((Npos (XO
+    (XI (XI (XI (XI (XI (XO (XI (XO (XI (XI (XI (XO (XI (XO (XI (XO (XI (XO
+    (XI (XO (XO (XO (XO (XI (XO (XO (XI
+    XH))))))))))))))))))))))))))))) :: ((Npos (XI (XI (XO (XO (XO (XI (XI (XO
+    (XI (XI (XO (XI (XO (XI (XI (XI (XO (XI (XO (XO (XO (XI (XO
+    XH)))))))))))))))))))))))) :: ((Npos (XO (XO (XO (XI (XO (XO (XO (XO (XI
+    (XO (XO (XI (XO (XO (XI (XI (XI (XI (XO (XI (XI (XI (XO (XI (XO (XI (XI
+    (XI XH))))))))))))))))))))))))))))) :: ((Npos (XO (XI (XI (XI (XO (XI (XI
+    (XI (XI (XO (XI (XI (XO (XO (XI (XO (XI (XO (XI (XO (XI (XO (XO (XO (XO
+    (XI (XI (XI (XO (XO (XI XH)))))))))))))))))))))))))))))))) :: ((Npos (XO
+    (XI (XO (XI (XI (XO (XI (XI (XO (XI (XI (XI (XI (XO (XI (XI (XO (XO (XI
+    (XI (XI (XO (XO (XO (XO (XI (XI (XI (XI (XI
+    XH))))))))))))))))))))))))))))))) :: ((Npos (XO (XI (XI (XI (XI (XO (XI
+    (XO (XI (XI (XI (XI (XO (XO (XI (XI (XI (XO (XO (XO (XO (XI (XO (XO (XO
+    (XI (XO (XO (XO (XI (XO XH)))))))))))))))))))))))))))))))) :: ((Npos (XO
+    (XI (XO (XI (XI (XO (XI (XI (XO (XO (XO (XI (XO (XO (XI (XI (XI (XO (XI
+    (XO (XO (XO (XI (XO (XI (XO (XO (XO (XO (XO (XI
+    XH)))))))))))))))))))))))))))))))) :: ((Npos (XO (XO (XI (XI (XI (XO (XI
+    (XI (XO (XO (XI (XI (XI (XI (XO (XI (XI (XI (XO (XI (XO (XI (XI (XI (XO
+    (XI (XO (XO (XI XH)))))))))))))))))))))))))))))) :: ((Npos (XI (XI (XO
+    (XO (XO (XI (XI (XI (XO (XO (XO (XI (XI (XO (XI (XI (XI (XI (XO (XO (XO
+    (XI (XI (XO (XI (XO (XO (XI XH))))))))))))))))))))))))))))) :: ((Npos (XO
+    (XI (XI (XI (XI (XI (XO (XI (XO (XI (XI (XI (XO (XO (XI (XI (XI (XI (XO
+    (XI (XO (XI (XI (XO (XI (XI (XO (XO
+    XH))))))))))))))))))))))))))))) :: ((Npos (XO (XO (XI (XI (XI (XO (XI (XO
+    (XO (XI (XI (XO (XO (XO (XI (XI (XI (XO (XO (XI (XI (XO (XO (XO (XI (XI
+    (XO (XI (XO (XI XH))))))))))))))))))))))))))))))) :: ((Npos (XI (XI (XO
+    (XI (XI (XO (XI (XO (XI (XI (XI (XI (XI (XI (XI (XO (XO (XI (XO (XI (XO
+    (XO (XI (XI (XO (XI (XO (XO (XI (XO (XO
+    XH)))))))))))))))))))))))))))))))) :: ((Npos (XO (XI (XO (XI (XI (XO (XI
+    (XI (XO (XO (XI (XO (XO (XO (XI (XI (XI (XO (XO (XO (XI (XO (XI (XI (XI
+    (XO (XI (XO (XI (XI XH))))))))))))))))))))))))))))))) :: ((Npos (XI (XO
+    (XO (XO (XI (XI (XO (XI (XI (XI (XI (XI (XI (XO (XO (XI (XO (XI (XI (XO
+    (XI (XI (XI (XI (XI (XI (XO (XO (XI (XO
+    XH))))))))))))))))))))))))))))))) :: ((Npos (XO (XO (XO (XO (XI (XO (XO
+    (XI (XI (XO (XI (XO (XO (XO (XI (XO (XO (XI (XI (XI (XI (XI (XO (XO (XI
+    (XO (XO (XI (XO (XO XH))))))))))))))))))))))))))))))) :: ((Npos (XI (XI
+    (XO (XO (XI (XO (XO (XI (XI (XO (XO (XO (XO (XI (XI (XI (XI (XI (XO (XI
+    (XI (XI (XI (XO (XI (XO (XO (XI (XO (XI (XI
+    XH)))))))))))))))))))))))))))))))) :: ((Npos (XI (XO (XI (XO (XO (XO (XI
+    (XI (XO (XI (XI (XO (XI (XI (XI (XI (XI (XI (XO (XI (XI (XI (XO (XI (XI
+    (XI (XI XH)))))))))))))))))))))))))))) :: ((Npos (XI (XO (XO (XI (XI (XO
+    (XO (XO (XI (XI (XI (XO (XO (XO (XI (XO (XI (XO (XO (XI (XI (XO (XO (XI
+    (XO (XI (XO (XI (XI (XO (XO XH)))))))))))))))))))))))))))))))) :: ((Npos
+    (XI (XO (XI (XO (XO (XO (XI (XI (XI (XI (XI (XO (XO (XI (XI (XO (XO (XI
+    (XO (XO (XI (XO (XI (XO (XI (XI (XO (XO (XI (XO (XO
+    XH)))))))))))))))))))))))))))))))) :: ((Npos (XI (XI (XI (XI (XI (XI (XO
+    (XO (XI (XO (XI (XI (XI (XO (XI (XI (XO (XO (XO (XI (XO (XO (XI (XI (XI
+    (XI (XI (XI (XI (XI (XI XH)))))))))))))))))))))))))))))))) :: ((Npos (XO
+    (XO (XI (XI (XO (XI (XI (XI (XI (XI (XI (XI (XO (XO (XI (XO (XO (XI (XO
+    (XI (XO (XO (XI (XI (XO (XI (XI (XO (XO
+    XH)))))))))))))))))))))))))))))) :: ((Npos (XI (XI (XO (XI (XO (XO (XO
+    (XI (XO (XO (XO (XO (XO (XI (XO (XO (XO (XI (XI (XO (XO (XO (XO (XO (XI
+    (XI (XI (XO (XO (XO XH))))))))))))))))))))))))))))))) :: ((Npos (XI (XI
+    (XI (XO (XI (XI (XO (XO (XO (XI (XI (XO (XI (XO (XI (XI (XO (XI (XI (XO
+    (XI (XO (XO (XI (XI (XO (XI (XO (XI (XI (XO
+    XH)))))))))))))))))))))))))))))))) :: ((Npos (XI (XI (XO (XO (XO (XO (XO
+    (XI (XO (XO (XI (XO (XO (XO (XI (XO (XO (XO (XI (XO (XO (XO (XO (XO (XI
+    (XI (XO (XO (XI (XO (XO XH)))))))))))))))))))))))))))))))) :: ((Npos (XO
+    (XI (XO (XI (XO (XI (XI (XO (XO (XI (XI (XI (XI (XO (XO (XI (XO (XO (XO
+    (XO (XO (XO (XI (XI (XI (XI (XI (XO (XI (XO (XO
+    XH)))))))))))))))))))))))))))))))) :: ((Npos (XO (XO (XI (XO (XI (XI (XO
+    (XO (XO (XI (XI (XO (XI (XO (XI (XO (XO (XO (XI (XO (XO (XO (XI (XI (XI
+    (XO (XO (XI (XI XH)))))))))))))))))))))))))))))) :: ((Npos (XO (XO (XO
+    (XI (XI (XI (XO (XO (XI (XO (XO (XO (XI (XO (XI (XI (XO (XO (XI (XI (XI
+    (XO (XI (XO (XO (XO (XO (XI (XI (XI
+    XH))))))))))))))))))))))))))))))) :: ((Npos (XI (XO (XO (XO (XO (XO (XO
+    (XO (XO (XI (XI (XO (XI (XO (XO (XO (XO (XO (XO (XO (XI (XI (XO (XO (XI
+    (XI (XI (XO (XO (XO (XO XH)))))))))))))))))))))))))))))))) :: ((Npos (XO
+    (XO (XI (XI (XO (XI (XO (XO (XO (XI (XO (XI (XO (XO (XI (XI (XO (XI (XO
+    (XO (XI (XI (XO (XI (XI (XO (XI (XO (XO (XO
+    XH))))))))))))))))))))))))))))))) :: ((Npos (XI (XO (XO (XI (XO (XO (XO
+    (XO (XO (XI (XO (XI (XI (XI (XO (XI (XO (XI (XO (XI (XI (XI (XO (XI (XI
+    (XO (XO (XO (XO (XO (XI XH)))))))))))))))))))))))))))))))) :: ((Npos (XI
+    (XO (XO (XO (XO (XI (XO (XI (XO (XO (XI (XO (XI (XI (XO (XO (XO (XI (XI
+    (XI (XI (XI (XO (XO (XO (XO (XI (XI (XO (XI (XI
+    XH)))))))))))))))))))))))))))))))) :: ((Npos (XI (XO (XO (XI (XO (XI (XO
+    (XI (XI (XO (XI (XO (XO (XO (XO (XO (XO (XI (XO (XO (XO (XI (XO (XI (XO
+    (XO (XO (XI (XI (XO (XO XH)))))))))))))))))))))))))))))))) :: ((Npos (XO
+    (XO (XI (XI (XI (XI (XO (XO (XO (XI (XO (XI (XO (XO (XO (XI (XI (XI (XI
+    (XI (XO (XO (XI (XO (XO (XI (XI (XO (XI
+    XH)))))))))))))))))))))))))))))) :: ((Npos (XI (XO (XO (XI (XO (XI (XO
+    (XI (XO (XO (XO (XI (XO (XO (XO (XI (XI (XO (XO (XI (XI (XO (XI (XO (XI
+    (XO (XI (XI (XO XH)))))))))))))))))))))))))))))) :: ((Npos (XI (XO (XI
+    (XO (XI (XO (XO (XO (XO (XO (XI (XO (XI (XO (XI (XO (XI (XI (XI (XI (XI
+    (XI (XO (XI (XO (XO (XI (XO (XI (XO (XI
+    XH)))))))))))))))))))))))))))))))) :: ((Npos (XI (XO (XO (XO (XO (XI (XO
+    (XO (XI (XO (XI (XO (XI (XO (XO (XO (XO (XO (XI (XI (XO (XI (XO (XO (XO
+    (XO (XO (XO (XO (XI (XO XH)))))))))))))))))))))))))))))))) :: ((Npos (XI
+    (XO (XO (XI (XO (XO (XI (XI (XI (XI (XO (XO (XO (XI (XO (XI (XO (XI (XO
+    (XO (XO (XO (XI (XI (XO (XI (XI (XO
+    XH))))))))))))))))))))))))))))) :: ((Npos (XO (XO (XI (XO (XI (XI (XO (XO
+    (XI (XI (XO (XI (XI (XO (XI (XI (XI (XI (XO (XI (XO (XO (XI (XI (XI (XI
+    (XO (XI (XI (XO (XO XH)))))))))))))))))))))))))))))))) :: ((Npos (XO (XI
+    (XO (XO (XI (XO (XI (XO (XO (XO (XO (XI (XI (XI (XO (XI (XO (XI (XO (XO
+    (XI (XO (XO (XI (XO (XO (XI (XO (XO (XI (XO
+    XH)))))))))))))))))))))))))))))))) :: ((Npos (XI (XI (XI (XI (XO (XO (XI
+    (XI (XI (XO (XI (XI (XI (XI (XI (XI (XO (XI (XO (XO (XI (XO (XI (XI (XO
+    (XI (XI (XO (XI (XO XH))))))))))))))))))))))))))))))) :: ((Npos (XI (XI
+    (XO (XI (XI (XO (XI (XI (XI (XI (XO (XI (XI (XO (XO (XO (XI (XO (XI (XI
+    (XO (XI (XO (XI (XO (XO (XI (XO (XI
+    XH)))))))))))))))))))))))))))))) :: ((Npos (XO (XI (XI (XI (XI (XI (XI
+    (XI (XO (XO (XO (XI (XI (XI (XI (XI (XO (XO (XI (XO (XO (XI (XI (XO (XO
+    (XO (XI (XO (XO (XO (XI XH)))))))))))))))))))))))))))))))) :: ((Npos (XI
+    (XI (XI (XI (XO (XI (XO (XO (XI (XI (XO (XI (XI (XI (XO (XO (XO (XO (XI
+    (XO (XO (XI (XO (XI (XI (XI (XI (XI (XI (XO
+    XH))))))))))))))))))))))))))))))) :: ((Npos (XO (XI (XI (XO (XO (XI (XO
+    (XO (XO (XI (XI (XO (XO (XI (XI (XO (XI (XO (XI (XO (XI (XO (XI (XO (XO
+    (XI (XI (XO (XI (XI XH))))))))))))))))))))))))))))))) :: ((Npos (XI (XI
+    (XI (XI (XO (XI (XO (XO (XO (XI (XI (XI (XI (XO (XO (XO (XI (XO (XO (XI
+    (XI (XI (XI (XO (XO (XO (XI (XI (XI
+    XH)))))))))))))))))))))))))))))) :: ((Npos (XI (XI (XI (XO (XI (XI (XI
+    (XO (XI (XO (XI (XO (XI (XO (XO (XI (XI (XI (XO (XI (XO (XI (XI (XO (XO
+    (XI (XO (XO (XO (XI (XO XH)))))))))))))))))))))))))))))))) :: ((Npos (XI
+    (XI (XO (XO (XI (XO (XO (XO (XI (XO (XO (XO (XI (XO (XI (XO (XO (XI (XO
+    (XI (XO (XO (XO (XI (XO (XI (XI (XO (XI (XI (XO
+    XH)))))))))))))))))))))))))))))))) :: ((Npos (XI (XO (XI (XI (XI (XI (XI
+    (XO (XI (XO (XO (XI (XI (XO (XO (XI (XI (XI (XI (XI (XO (XI (XO (XI (XI
+    (XO (XO (XI (XI (XI (XO XH)))))))))))))))))))))))))))))))) :: ((Npos (XO
+    (XO (XO (XO (XI (XI (XO (XO (XI (XO (XI (XI (XI (XI (XO (XI (XO (XI (XI
+    (XO (XO (XO (XI (XO (XO (XO (XO XH)))))))))))))))))))))))))))) :: ((Npos
+    (XI (XO (XI (XI (XO (XO (XI (XI (XI (XI (XO (XO (XO (XI (XO (XI (XO (XI
+    (XO (XI (XI (XI (XI (XI (XI (XI (XI (XO (XI (XI (XI
+    XH)))))))))))))))))))))))))))))))) :: ((Npos (XO (XI (XO (XI (XO (XI (XI
+    (XO (XO (XO (XO (XO (XO (XI (XI (XO (XI (XO (XI (XO (XO (XO (XO (XO (XO
+    (XI (XI (XO (XO (XO (XI XH)))))))))))))))))))))))))))))))) :: ((Npos (XO
+    (XI (XO (XO (XI (XO (XO (XO (XI (XI (XI (XI (XO (XI (XO (XO (XO (XI (XO
+    (XO (XI (XO (XI (XO (XI (XI (XO (XI (XI (XI
+    XH))))))))))))))))))))))))))))))) :: ((Npos (XO (XI (XI (XO (XO (XO (XO
+    (XO (XO (XI (XI (XI (XI (XI (XI (XI (XI (XO (XI (XO (XI (XI (XI (XI (XI
+    (XO (XI (XO (XO (XO (XO XH)))))))))))))))))))))))))))))))) :: ((Npos (XO
+    (XI (XO (XI (XI (XI (XO (XI (XI (XI (XI (XI (XI (XI (XI (XO (XO (XO (XO
+    (XI (XI (XI (XO (XI (XO (XI (XO (XI (XI (XO (XI
+    XH)))))))))))))))))))))))))))))))) :: ((Npos (XI (XI (XI (XI (XO (XI (XI
+    (XO (XO (XO (XI (XO (XI (XO (XI (XI (XO (XI (XO (XO (XO (XI (XI (XI (XI
+    (XO (XI (XI (XI (XO XH))))))))))))))))))))))))))))))) :: ((Npos (XO (XO
+    (XO (XI (XO (XI (XO (XI (XI (XI (XO (XI (XI (XI (XO (XI (XO (XI (XO (XI
+    (XI (XO (XI (XO (XI (XO (XO (XO (XI
+    XH)))))))))))))))))))))))))))))) :: ((Npos (XI (XI (XO (XI (XI (XO (XI
+    (XO (XO (XI (XO (XO (XI (XO (XI (XI (XI (XO (XO (XO (XI (XI (XI (XO (XO
+    (XI (XI (XI (XI (XO (XI XH)))))))))))))))))))))))))))))))) :: ((Npos (XO
+    (XO (XI (XO (XI (XO (XI (XI (XO (XI (XO (XI (XI (XI (XI (XI (XI (XI (XI
+    (XO (XI (XI (XI (XI (XI (XI (XO (XI (XO (XO (XI
+    XH)))))))))))))))))))))))))))))))) :: ((Npos (XI (XO (XO (XO (XO (XO (XI
+    (XI (XI (XO (XI (XI (XO (XI (XO (XI (XO (XO (XI (XI (XO (XI (XI (XI (XO
+    (XO (XO (XI (XO (XO (XI XH)))))))))))))))))))))))))))))))) :: ((Npos (XI
+    (XI (XO (XO (XO (XI (XI (XO (XO (XI (XI (XO (XO (XO (XI (XO (XO (XO (XO
+    (XO (XI (XO (XI (XI (XO (XI (XI (XI (XO (XI (XI
+    XH)))))))))))))))))))))))))))))))) :: ((Npos (XO (XO (XI (XI (XI (XI (XI
+    (XO (XO (XI (XO (XI (XO (XI (XI (XI (XI (XO (XO (XI (XO (XI (XI (XO (XO
+    (XO (XO (XO (XO XH)))))))))))))))))))))))))))))) :: ((Npos (XI (XI (XO
+    (XI (XO (XO (XO (XI (XO (XI (XO (XO (XI (XI (XI (XO (XO (XO (XO (XI (XI
+    (XO (XO (XO (XO (XI (XO (XI (XO (XO
+    XH))))))))))))))))))))))))))))))) :: ((Npos (XO (XI (XO (XO (XO (XI (XO
+    (XO (XI (XO (XI (XO (XI (XI (XO (XO (XO (XI (XI (XO (XO (XI (XO (XO (XO
+    (XI (XO (XI (XO (XI (XI XH)))))))))))))))))))))))))))))))) :: ((Npos (XI
+    (XO (XI (XO (XI (XI (XI (XI (XI (XI (XO (XI (XO (XO (XO (XO (XO (XI (XO
+    (XO (XO (XI (XI (XO (XO (XI (XI (XO (XO (XI (XO
+    XH)))))))))))))))))))))))))))))))) :: ((Npos (XO (XO (XO (XI (XI (XO (XI
+    (XI (XO (XO (XI (XO (XI (XO (XO (XO (XO (XO (XI (XO (XO (XO (XI (XO (XI
+    (XI (XO (XO (XI (XI (XI XH)))))))))))))))))))))))))))))))) :: ((Npos (XI
+    (XO (XI (XO (XI (XO (XO (XI (XI (XI (XI (XI (XO (XI (XO (XI (XO (XO (XI
+    (XI (XO (XI (XI (XI (XI (XI (XI (XO (XO (XO (XO
+    XH)))))))))))))))))))))))))))))))) :: ((Npos (XI (XO (XO (XI (XO (XO (XI
+    (XI (XI (XO (XI (XI (XO (XI (XI (XO (XI (XO (XO (XI (XO (XO (XI (XI (XO
+    (XO (XI (XO (XI XH)))))))))))))))))))))))))))))) :: ((Npos (XI (XO (XO
+    (XO (XO (XO (XO (XO (XO (XO (XO (XO (XI (XO (XI (XO (XO (XI (XI (XI (XI
+    (XI (XO (XI (XO (XO (XI (XO (XO
+    XH)))))))))))))))))))))))))))))) :: ((Npos (XO (XO (XI (XI (XO (XO (XI
+    (XI (XI (XO (XO (XO (XI (XI (XO (XO (XO (XI (XO (XO (XI (XO (XO (XO (XO
+    (XI (XI (XI (XI (XI (XO XH)))))))))))))))))))))))))))))))) :: ((Npos (XO
+    (XI (XI (XO (XO (XI (XI (XO (XO (XO (XI (XO (XO (XO (XI (XO (XI (XO (XO
+    (XI (XI (XI (XO (XI (XI (XO (XI (XO (XO (XI (XO
+    XH)))))))))))))))))))))))))))))))) :: ((Npos (XI (XI (XI (XI (XO (XI (XI
+    (XI (XO (XI (XO (XI (XO (XO (XI (XI (XI (XO (XO (XI (XI (XI (XI (XO (XI
+    (XI (XO (XI (XO (XO (XO XH)))))))))))))))))))))))))))))))) :: ((Npos (XO
+    (XO (XO (XI (XI (XO (XO (XO (XI (XI (XO (XO (XI (XO (XI (XO (XI (XI (XI
+    (XO (XO (XO (XO (XO (XO (XO (XO (XI (XO (XO
+    XH))))))))))))))))))))))))))))))) :: ((Npos (XI (XO (XI (XO (XI (XO (XI
+    (XO (XO (XO (XI (XO (XI (XI (XO (XO (XO (XI (XI (XO (XO (XI (XI (XO (XI
+    (XI (XI XH)))))))))))))))))))))))))))) :: ((Npos (XO (XO (XO (XO (XO (XO
+    (XI (XI (XI (XI (XO (XI (XO (XI (XO (XI (XO (XI (XO (XO (XO (XO (XI (XI
+    (XO (XO (XI (XO (XO (XI (XI XH)))))))))))))))))))))))))))))))) :: ((Npos
+    (XO (XI (XO (XI (XO (XI (XO (XI (XI (XO (XO (XO (XO (XI (XO (XO (XO (XI
+    (XI (XI (XO (XI (XO (XI (XI (XI (XO (XI (XI (XI
+    XH))))))))))))))))))))))))))))))) :: ((Npos (XO (XO (XI (XI (XI (XO (XI
+    (XO (XI (XI (XO (XO (XO (XO (XO (XI (XO (XO (XI (XO (XI (XO (XO (XI (XI
+    (XI (XI (XI (XI (XI (XO XH)))))))))))))))))))))))))))))))) :: ((Npos (XO
+    (XI (XI (XI (XI (XO (XO (XI (XI (XO (XI (XI (XI (XI (XO (XO (XI (XO (XI
+    (XI (XO (XI (XI (XI (XO (XO (XI (XO (XO (XO (XI
+    XH)))))))))))))))))))))))))))))))) :: ((Npos (XO (XO (XI (XO (XO (XO (XI
+    (XI (XO (XO (XI (XO (XO (XI (XO (XO (XO (XO (XO (XO (XO (XO (XO (XI (XO
+    (XO (XI (XO (XI XH)))))))))))))))))))))))))))))) :: ((Npos (XI (XO (XI
+    (XO (XO (XI (XO (XI (XI (XO (XO (XO (XI (XI (XI (XO (XO (XO (XI (XI (XO
+    (XO (XI (XI (XO (XO (XO (XO (XI (XO
+    XH))))))))))))))))))))))))))))))) :: ((Npos (XO (XO (XI (XI (XI (XI (XI
+    (XI (XI (XO (XO (XI (XI (XO (XO (XO (XO (XI (XO (XI (XI (XO (XI (XO (XO
+    (XO (XI XH)))))))))))))))))))))))))))) :: ((Npos (XO (XO (XO (XO (XI (XI
+    (XI (XO (XO (XI (XI (XO (XO (XO (XO (XI (XO (XI (XO (XI (XO (XO (XI (XO
+    (XO (XO (XO (XO (XI (XO (XO XH)))))))))))))))))))))))))))))))) :: ((Npos
+    (XO (XO (XO (XI (XO (XI (XI (XO (XO (XO (XI (XI (XI (XI (XO (XI (XO (XO
+    (XI (XO (XO (XI (XI (XO (XI (XO (XI (XO
+    XH))))))))))))))))))))))))))))) :: ((Npos (XO (XO (XO (XI (XO (XO (XO (XO
+    (XI (XO (XO (XI (XI (XI (XI (XI (XI (XO (XO (XI (XO (XI (XI (XO (XO (XO
+    (XO (XO (XO (XI XH))))))))))))))))))))))))))))))) :: ((Npos (XO (XI (XI
+    (XO (XO (XI (XO (XI (XO (XI (XO (XI (XI (XI (XO (XO (XI (XO (XO (XI (XO
+    (XO (XO (XO (XI (XI (XO (XO (XO (XO (XI
+    XH)))))))))))))))))))))))))))))))) :: ((Npos (XI (XI (XO (XO (XO (XI (XI
+    (XI (XO (XI (XO (XI (XO (XI (XO (XI (XI (XO (XO (XO (XI (XO (XO (XI (XI
+    (XO (XO (XI (XO (XI XH))))))))))))))))))))))))))))))) :: ((Npos (XO (XI
+    (XO (XI (XI (XI (XI (XI (XI (XO (XO (XI (XI (XO (XO (XO (XI (XI (XI (XO
+    (XO (XI (XI (XO (XI (XO (XO (XI (XO (XI (XO
+    XH)))))))))))))))))))))))))))))))) :: ((Npos (XO (XO (XO (XI (XI (XI (XI
+    (XI (XO (XO (XI (XO (XI (XO (XI (XO (XI (XO (XO (XO (XO (XI (XI (XO (XO
+    (XO (XO (XI (XO (XI XH))))))))))))))))))))))))))))))) :: ((Npos (XO (XI
+    (XI (XO (XO (XO (XO (XI (XI (XO (XI (XO (XI (XI (XO (XO (XI (XI (XO (XO
+    (XI (XI (XO (XI (XO (XO (XI (XO (XI (XO
+    XH))))))))))))))))))))))))))))))) :: ((Npos (XI (XO (XO (XI (XO (XO (XO
+    (XI (XI (XO (XI (XI (XI (XO (XO (XO (XI (XO (XI (XI (XI (XI (XO (XO (XI
+    (XI (XI (XO (XO XH)))))))))))))))))))))))))))))) :: ((Npos (XI (XI (XI
+    (XI (XO (XI (XO (XI (XI (XO (XI (XO (XI (XI (XO (XO (XI (XO (XO (XO (XI
+    (XO (XO (XI (XI (XI (XO XH)))))))))))))))))))))))))))) :: ((Npos (XI (XO
+    (XI (XO (XI (XI (XO (XI (XO (XI (XI (XO (XO (XO (XO (XI (XI (XO (XI (XO
+    (XI (XI (XO (XO (XI (XO (XO (XO (XO (XO (XI
+    XH)))))))))))))))))))))))))))))))) :: ((Npos (XO (XO (XI (XI (XO (XI (XI
+    (XI (XI (XI (XI (XI (XI (XO (XI (XO (XI (XO (XI (XI (XO (XO (XI (XO (XO
+    XH)))))))))))))))))))))))))) :: ((Npos (XI (XI (XO (XO (XO (XO (XI (XI
+    (XO (XO (XO (XO (XO (XO (XI (XO (XO (XI (XI (XI (XI (XI (XI (XI (XI (XO
+    (XO (XO XH))))))))))))))))))))))))))))) :: ((Npos (XI (XI (XO (XI (XO (XI
+    (XO (XI (XI (XO (XI (XI (XI (XO (XI (XI (XO (XI (XO (XI (XO (XI (XI (XI
+    (XO (XO (XO (XI (XI (XI (XI XH)))))))))))))))))))))))))))))))) :: ((Npos
+    (XO (XI (XO (XO (XO (XI (XO (XI (XO (XI (XO (XO (XO (XI (XO (XI (XO (XO
+    (XO (XI (XI (XI (XO (XI (XI (XO (XO (XO
+    XH))))))))))))))))))))))))))))) :: ((Npos (XI (XO (XO (XO (XO (XO (XO (XI
+    (XI (XO (XI (XO (XO (XO (XI (XO (XO (XO (XI (XI (XO (XI (XI (XO (XI (XI
+    (XI (XI (XI (XI XH))))))))))))))))))))))))))))))) :: ((Npos (XI (XO (XI
+    (XI (XO (XO (XO (XO (XO (XO (XO (XI (XI (XI (XO (XI (XI (XO (XI (XO (XI
+    (XO (XO (XI (XI (XO (XO (XI (XI (XO
+    XH))))))))))))))))))))))))))))))) :: ((Npos (XO (XI (XI (XI (XO (XI (XI
+    (XO (XO (XI (XI (XI (XI (XI (XO (XO (XO (XI (XI (XO (XI (XI (XO (XI (XO
+    (XI (XO (XI (XI (XO (XI XH)))))))))))))))))))))))))))))))) :: ((Npos (XO
+    (XO (XI (XI (XO (XI (XI (XO (XI (XI (XO (XI (XO (XO (XO (XO (XO (XO (XI
+    (XI (XI (XI (XO (XO (XO (XI (XI (XI (XI (XO (XI
+    XH)))))))))))))))))))))))))))))))) :: ((Npos (XO (XI (XO (XO (XO (XO (XO
+    (XO (XI (XO (XI (XO (XO (XO (XO (XI (XO (XO (XI (XI (XI (XI (XI (XI (XI
+    (XO (XI XH)))))))))))))))))))))))))))) :: ((Npos (XI (XO (XO (XI (XO (XO
+    (XO (XI (XI (XI (XO (XO (XI (XI (XO (XI (XO (XO (XO (XO (XI (XI (XI (XI
+    (XI (XI (XO (XO (XO (XO (XO XH)))))))))))))))))))))))))))))))) :: ((Npos
+    (XO (XO (XI (XO (XI (XO (XI (XO (XI (XI (XI (XO (XO (XO (XI (XO (XI (XI
+    (XI (XI (XI (XI (XI (XI (XO (XI (XO (XO (XO (XI (XO
+    XH)))))))))))))))))))))))))))))))) :: ((Npos (XO (XI (XI (XO (XO (XO (XO
+    (XI (XO (XI (XI (XI (XO (XI (XO (XO (XO (XI (XI (XO (XI (XO (XI (XO (XI
+    (XI (XO (XO (XO (XO XH))))))))))))))))))))))))))))))) :: ((Npos (XI (XI
+    (XI (XI (XI (XO (XI (XO (XO (XI (XI (XO (XI (XI (XO (XO (XO (XO (XI (XI
+    (XI (XI (XI (XI (XI (XO (XI (XI (XI (XI (XO
+    XH)))))))))))))))))))))))))))))))) :: ((Npos (XI (XI (XO (XO (XI (XI (XI
+    (XO (XO (XI (XO (XI (XI (XO (XO (XI (XI (XI (XO (XI (XO (XI (XI (XO (XO
+    (XI (XO (XI (XO (XI (XO XH)))))))))))))))))))))))))))))))) :: ((Npos (XI
+    (XI (XO (XI (XI (XI (XO (XI (XI (XO (XO (XO (XI (XO (XO (XI (XO (XI (XO
+    (XO (XO (XO (XI (XI (XI (XI (XO (XO (XO (XO (XI
+    XH)))))))))))))))))))))))))))))))) :: ((Npos (XO (XO (XI (XI (XI (XI (XO
+    (XO (XI (XO (XO (XI (XO (XI (XI (XO (XI (XO (XI (XI (XO (XI (XO (XI (XI
+    (XI (XO (XO (XO (XI (XI XH)))))))))))))))))))))))))))))))) :: ((Npos (XI
+    (XO (XI (XI (XO (XO (XI (XI (XO (XO (XI (XI (XO (XO (XO (XI (XI (XI (XO
+    (XI (XO (XO (XO (XO (XO (XO (XI (XO (XI (XO (XI
+    XH)))))))))))))))))))))))))))))))) :: ((Npos (XO (XO (XI (XI (XO (XI (XO
+    (XI (XO (XI (XI (XI (XO (XO (XO (XO (XI (XI (XI (XI (XO (XI (XI (XI (XO
+    (XI (XO (XI XH))))))))))))))))))))))))))))) :: ((Npos (XI (XO (XO (XO (XI
+    (XO (XI (XO (XI (XO (XI (XO (XI (XO (XO (XO (XI (XI (XI (XI (XI (XI (XO
+    (XI (XI (XI (XI (XO (XO (XI XH))))))))))))))))))))))))))))))) :: ((Npos
+    (XI (XO (XI (XI (XO (XI (XO (XO (XO (XI (XI (XI (XI (XO (XI (XO (XO (XI
+    (XI (XO (XO (XI (XO (XO (XO (XI (XI (XO (XI (XO (XI
+    XH)))))))))))))))))))))))))))))))) :: ((Npos (XI (XO (XO (XI (XO (XO (XO
+    (XO (XI (XI (XO (XO (XI (XO (XI (XI (XI (XI (XO (XO (XO (XI (XI (XI (XI
+    (XO (XI (XO (XO (XI XH))))))))))))))))))))))))))))))) :: ((Npos (XI (XI
+    (XO (XI (XO (XI (XI (XI (XO (XO (XI (XI (XO (XO (XO (XO (XO (XI (XI (XO
+    (XI (XI (XO (XI (XO (XO (XI (XI (XI (XO (XI
+    XH)))))))))))))))))))))))))))))))) :: ((Npos (XO (XO (XO (XO (XO (XI (XO
+    (XI (XI (XO (XO (XI (XO (XI (XO (XI (XO (XI (XO (XI (XI (XO (XO (XI (XO
+    (XI (XO (XO (XI (XO (XI XH)))))))))))))))))))))))))))))))) :: ((Npos (XI
+    (XO (XO (XI (XO (XO (XI (XO (XI (XO (XO (XO (XO (XO (XI (XI (XI (XO (XO
+    (XI (XI (XO (XI (XI (XI (XO (XO (XO (XO (XI
+    XH))))))))))))))))))))))))))))))) :: ((Npos (XO (XI (XO (XO (XI (XI (XI
+    (XI (XO (XI (XO (XI (XO (XI (XO (XI (XO (XO (XO (XO (XI (XI (XO (XI (XO
+    (XI (XO XH)))))))))))))))))))))))))))) :: ((Npos (XO (XO (XO (XO (XI (XI
+    (XO (XI (XO (XI (XO (XI (XI (XO (XI (XI (XI (XI (XO (XO (XO (XI (XI (XI
+    (XI (XO (XI (XI (XO (XO (XO XH)))))))))))))))))))))))))))))))) :: ((Npos
+    (XO (XO (XO (XO (XO (XO (XI (XO (XO (XO (XO (XI (XI (XO (XO (XO (XI (XO
+    (XI (XI (XI (XO (XO (XI (XO (XI (XO (XI (XO (XI (XI
+    XH)))))))))))))))))))))))))))))))) :: ((Npos (XO (XO (XI (XI (XO (XO (XO
+    (XO (XO (XO (XI (XI (XO (XO (XO (XI (XO (XO (XO (XI (XO (XI (XO (XI (XI
+    (XI (XO (XI (XI (XO (XI XH)))))))))))))))))))))))))))))))) :: ((Npos (XO
+    (XO (XO (XI (XI (XI (XO (XO (XO (XI (XI (XO (XI (XO (XO (XI (XO (XO (XO
+    (XO (XO (XI (XO (XO (XO (XO (XI (XI (XI (XI (XO
+    XH)))))))))))))))))))))))))))))))) :: ((Npos (XI (XO (XI (XO (XI (XO (XI
+    (XI (XO (XI (XI (XI (XI (XI (XO (XI (XI (XO (XI (XO (XO (XO (XO (XI (XO
+    (XI (XI (XI (XO (XI XH))))))))))))))))))))))))))))))) :: ((Npos (XI (XI
+    (XO (XI (XI (XI (XO (XO (XI (XO (XI (XI (XO (XI (XO (XO (XI (XO (XO (XO
+    (XI (XO (XO (XI (XO (XI (XO (XI (XO (XI (XO
+    XH)))))))))))))))))))))))))))))))) :: ((Npos (XO (XI (XO (XO (XO (XI (XI
+    (XI (XI (XO (XI (XI (XI (XI (XO (XO (XI (XI (XI (XO (XI (XO (XI (XO (XI
+    (XO (XI (XI (XI (XI (XO XH)))))))))))))))))))))))))))))))) :: ((Npos (XO
+    (XI (XO (XO (XO (XI (XI (XI (XO (XO (XO (XI (XI (XO (XI (XI (XI (XO (XO
+    (XO (XO (XO (XI (XI (XI (XO (XO (XO (XI
+    XH)))))))))))))))))))))))))))))) :: ((Npos (XI (XI (XI (XI (XO (XO (XI
+    (XI (XO (XI (XI (XI (XO (XO (XO (XO (XO (XO (XO (XO (XO (XO (XI (XI (XI
+    (XI (XO (XO XH))))))))))))))))))))))))))))) :: ((Npos (XI (XI (XI (XO (XI
+    (XI (XO (XO (XI (XI (XO (XO (XO (XI (XI (XI (XI (XO (XI (XI (XI (XO (XI
+    (XI (XO (XI (XI (XI XH))))))))))))))))))))))))))))) :: ((Npos (XO (XO (XI
+    (XO (XI (XI (XO (XO (XO (XO (XO (XI (XO (XO (XO (XI (XI (XI (XO (XI (XO
+    (XI (XI (XO (XI (XI (XO (XO (XI (XI (XO
+    XH)))))))))))))))))))))))))))))))) :: ((Npos (XI (XO (XO (XO (XI (XO (XI
+    (XI (XO (XI (XI (XI (XO (XO (XO (XO (XO (XO (XI (XI (XO (XI (XO (XO (XI
+    (XI (XI (XI (XO (XI (XI XH)))))))))))))))))))))))))))))))) :: ((Npos (XI
+    (XI (XO (XI (XO (XI (XI (XI (XO (XI (XO (XI (XI (XO (XO (XI (XI (XI (XI
+    (XO (XO (XI (XO (XO (XO (XO (XI (XO (XO (XO (XO
+    XH)))))))))))))))))))))))))))))))) :: ((Npos (XI (XO (XO (XO (XO (XI (XO
+    (XO (XI (XI (XI (XO (XO (XI (XI (XO (XO (XI (XI (XI (XO (XI (XI (XI (XI
+    (XI (XI (XI (XI (XO (XI XH)))))))))))))))))))))))))))))))) :: ((Npos (XO
+    (XI (XI (XI (XI (XO (XI (XI (XO (XI (XO (XO (XO (XO (XI (XI (XO (XO (XI
+    (XO (XI (XI (XI (XO (XI (XI (XI (XO (XI (XI (XO
+    XH)))))))))))))))))))))))))))))))) :: ((Npos (XI (XI (XI (XI (XI (XI (XI
+    (XI (XO (XO (XI (XI (XI (XI (XO (XI (XO (XO (XI (XI (XI (XI (XI (XO (XO
+    (XI (XO (XI (XI (XI XH))))))))))))))))))))))))))))))) :: ((Npos (XI (XO
+    (XO (XI (XI (XI (XO (XO (XI (XI (XI (XO (XI (XO (XO (XO (XI (XI (XO (XI
+    (XO (XI (XO (XI (XI (XI (XI (XO (XI (XI (XO
+    XH)))))))))))))))))))))))))))))))) :: ((Npos (XO (XO (XI (XI (XI (XO (XO
+    (XI (XI (XO (XO (XO (XI (XO (XO (XO (XI (XI (XI (XI (XO (XI (XO (XO (XO
+    (XO (XO (XI (XO (XI (XI XH)))))))))))))))))))))))))))))))) :: ((Npos (XI
+    (XI (XI (XO (XO (XO (XI (XO (XO (XO (XI (XO (XO (XO (XI (XI (XI (XI (XO
+    (XO (XO (XO (XO (XO (XO (XO (XI (XO (XO (XO
+    XH))))))))))))))))))))))))))))))) :: ((Npos (XI (XO (XI (XI (XI (XI (XO
+    (XI (XI (XO (XI (XI (XI (XO (XI (XI (XO (XI (XO (XO (XO (XI (XO (XI (XI
+    (XO (XI (XI (XO (XO (XO XH)))))))))))))))))))))))))))))))) :: ((Npos (XI
+    (XI (XI (XI (XO (XO (XI (XO (XI (XO (XO (XI (XO (XO (XI (XO (XI (XI (XO
+    (XO (XI (XO (XO (XI (XO (XO (XI (XI (XI (XO (XO
+    XH)))))))))))))))))))))))))))))))) :: ((Npos (XO (XO (XI (XO (XO (XI (XI
+    (XI (XO (XO (XI (XI (XO (XI (XO (XI (XI (XO (XI (XO (XO (XO (XI (XO (XO
+    (XO (XO (XI (XI (XO (XO XH)))))))))))))))))))))))))))))))) :: ((Npos (XI
+    (XO (XI (XI (XI (XI (XI (XO (XI (XI (XI (XO (XI (XO (XI (XO (XO (XI (XO
+    (XI (XO (XI (XI (XI (XI (XI (XI (XO
+    XH))))))))))))))))))))))))))))) :: ((Npos (XO (XI (XO (XO (XO (XO (XO (XO
+    (XO (XO (XO (XI (XI (XO (XO (XI (XO (XI (XI (XO (XO (XO (XO (XO (XI (XI
+    (XI (XO (XI (XO XH))))))))))))))))))))))))))))))) :: ((Npos (XO (XO (XO
+    (XO (XI (XI (XI (XO (XI (XO (XI (XI (XI (XI (XO (XI (XO (XI (XO (XI (XO
+    (XI (XI (XO (XO (XO (XO (XI (XO
+    XH)))))))))))))))))))))))))))))) :: ((Npos (XI (XO (XO (XO (XI (XO (XO
+    (XO (XO (XO (XO (XI (XI (XI (XI (XO (XO (XI (XO (XI (XI (XI (XI (XO (XI
+    (XI (XI (XI (XI XH)))))))))))))))))))))))))))))) :: ((Npos (XO (XO (XO
+    (XI (XI (XO (XI (XI (XO (XO (XI (XO (XO (XI (XO (XO (XI (XO (XI (XO (XI
+    (XO (XO (XO (XO (XO (XO (XI (XI
+    XH)))))))))))))))))))))))))))))) :: ((Npos (XO (XO (XI (XI (XO (XI (XO
+    (XO (XO (XI (XO (XO (XO (XO (XO (XO (XO (XI (XI (XI (XI (XI (XO (XI (XI
+    (XI (XO (XO (XO (XI XH))))))))))))))))))))))))))))))) :: ((Npos (XI (XI
+    (XI (XO (XI (XI (XI (XO (XO (XO (XO (XI (XI (XO (XO (XO (XO (XI (XI (XO
+    (XO (XO (XO (XI (XI (XI (XI (XI XH))))))))))))))))))))))))))))) :: ((Npos
+    (XO (XI (XI (XO (XI (XI (XI (XO (XO (XI (XI (XO (XO (XI (XI (XO (XI (XI
+    (XO (XO (XI (XO (XO (XO (XO (XI (XI (XO (XO (XI
+    XH))))))))))))))))))))))))))))))) :: ((Npos (XO (XO (XI (XO (XI (XO (XO
+    (XI (XI (XI (XO (XI (XI (XO (XO (XI (XO (XO (XO (XI (XI (XO (XI (XO (XO
+    (XO (XO (XI (XI (XO (XI XH)))))))))))))))))))))))))))))))) :: ((Npos (XI
+    (XI (XI (XO (XI (XI (XO (XI (XO (XO (XO (XO (XO (XI (XO (XO (XO (XI (XI
+    (XO (XI (XI (XI (XI (XO (XO (XO (XO (XI (XO
+    XH))))))))))))))))))))))))))))))) :: [])))))))))))))))))))))))))))))))))))))))))))))))))))))))))))))))))))))))))))))))))))))))))))))))))))))))))))))))))))))))))))))))))))))))))))))))))))))))))))))))))))))))))))))))))))))))))))))))))))))))))))))))))))))))))))))))))))))))))))))))))))))))))))))))
+
+(** val rFC_V1 : n list **)
+
+let rFC_V1 =
+  (Npos (XI (XO (XI (XO (XO (XO (XI (XO (XI (XO (XO (XI (XI (XI (XO (XI (XI
+    (XI (XI (XI (XI (XO (XO (XO (XO (XO (XO (XO (XI
+    XH)))))))))))))))))))))))))))))) :: ((Npos (XI (XI (XI (XO (XO (XO (XI
+    (XI (XO (XI (XO (XO (XI (XO (XI (XI (XO (XI (XI (XO (XO (XO (XI (XI (XI
+    (XO (XO (XI (XI (XI XH))))))))))))))))))))))))))))))) :: ((Npos (XO (XO
+    (XI (XO (XO (XI (XI (XI (XO (XI (XO (XO (XO (XO (XI (XI (XO (XI (XO (XO
+    (XO (XI (XI (XI (XO (XI (XI (XO (XO (XO (XI
+    XH)))))))))))))))))))))))))))))))) :: ((Npos (XI (XO (XO (XI (XO (XI (XI
+    (XI (XO (XI (XI (XI (XO (XO (XO (XI (XO (XO (XI (XI (XI (XO (XO (XI (XI
+    (XO (XI (XI (XO (XO XH))))))))))))))))))))))))))))))) :: ((Npos (XI (XI
+    (XO (XI (XI (XI (XO (XO (XO (XO (XI (XI (XO (XO (XI (XI (XO (XO (XO (XO
+    (XI (XO (XI (XI (XI (XI (XI (XO (XO (XO (XO
+    XH)))))))))))))))))))))))))))))))) :: ((Npos (XO (XO (XI (XI (XO (XI (XI
+    (XI (XI (XI (XO (XI (XI (XI (XO (XO (XI (XI (XI (XI (XI (XI (XO (XO (XO
+    (XO (XO (XO (XO XH)))))))))))))))))))))))))))))) :: ((Npos (XO (XI (XI
+    (XI (XO (XI (XO (XO (XI (XO (XO (XI (XO (XI (XI (XO (XO (XO (XO (XI (XO
+    (XI (XI (XO (XO (XO (XI (XO (XO (XI
+    XH))))))))))))))))))))))))))))))) :: ((Npos (XO (XI (XI (XO (XI (XO (XI
+    (XI (XI (XI (XI (XO (XI (XO (XO (XO (XI (XI (XI (XO (XI (XI (XO (XO (XO
+    (XI (XI (XO XH))))))))))))))))))))))))))))) :: ((Npos (XI (XO (XI (XI (XI
+    (XO (XI (XI (XI (XO (XI (XI (XO (XI (XO (XI (XI (XI (XO (XI (XI (XO (XO
+    (XO (XI (XO (XO (XO (XI (XO (XI
+    XH)))))))))))))))))))))))))))))))) :: ((Npos (XI (XO (XI (XO (XI (XO (XO
+    (XI (XI (XO (XO (XO (XI (XO (XI (XI (XO (XI (XI (XO (XO (XI (XI (XO (XI
+    (XO (XO (XI (XO (XI XH))))))))))))))))))))))))))))))) :: ((Npos (XO (XO
+    (XI (XI (XI (XO (XI (XO (XO (XO (XI (XI (XO (XO (XO (XI (XI (XO (XO (XI
+    (XI (XI (XO (XI (XI (XI (XO (XI (XO (XO
+    XH))))))))))))))))))))))))))))))) :: ((Npos (XO (XI (XI (XI (XI (XO (XO
+    (XO (XO (XO (XI (XO (XI (XO (XO (XO (XI (XI (XI (XO (XO (XI (XO (XO (XI
+    (XI (XO (XI (XI (XO (XO XH)))))))))))))))))))))))))))))))) :: ((Npos (XI
+    (XO (XO (XI (XO (XO (XO (XO (XI (XI (XO (XI (XO (XI (XO (XO (XI (XI (XI
+    (XO (XO (XI (XO (XO (XO (XI (XO (XI (XI (XI
+    XH))))))))))))))))))))))))))))))) :: ((Npos (XI (XI (XO (XI (XI (XO (XI
+    (XO (XO (XI (XI (XI (XO (XI (XI (XO (XO (XI (XO (XO (XI (XI (XI (XI (XI
+    (XI (XI (XO (XO (XI (XI XH)))))))))))))))))))))))))))))))) :: ((Npos (XI
+    (XO (XO (XI (XI (XI (XI (XO (XO (XI (XO (XO (XO (XI (XI (XO (XI (XI (XO
+    (XO (XI (XO (XI (XO (XO (XO (XO (XO (XO (XO (XO
+    XH)))))))))))))))))))))))))))))))) :: ((Npos (XI (XO (XO (XO (XI (XO (XI
+    (XO (XO (XI (XO (XO (XO (XO (XI (XO (XO (XI (XO (XO (XO (XO (XI (XO (XI
+    (XO (XI (XO (XI (XI (XI XH)))))))))))))))))))))))))))))))) :: ((Npos (XO
+    (XI (XI (XO (XI (XO (XO (XO (XI (XI (XO (XI (XO (XO (XO (XI (XO (XO (XI
+    (XI (XO (XO (XO (XI (XO (XI (XI (XO (XI
+    XH)))))))))))))))))))))))))))))) :: ((Npos (XO (XI (XI (XI (XI (XO (XO
+    (XI (XO (XO (XI (XO (XO (XO (XO (XI (XI (XO (XI (XI (XO (XO (XI (XI (XI
+    (XI (XI (XI (XI (XO (XI XH)))))))))))))))))))))))))))))))) :: ((Npos (XO
+    (XI (XO (XO (XI (XO (XO (XO (XI (XI (XI (XO (XI (XO (XI (XI (XO (XO (XO
+    (XO (XO (XO (XI (XI (XI (XO (XO (XI (XO
+    XH)))))))))))))))))))))))))))))) :: ((Npos (XI (XO (XO (XI (XO (XO (XO
+    (XI (XI (XI (XO (XO (XO (XO (XO (XO (XI (XO (XI (XI (XO (XO (XO (XO (XI
+    (XI (XI (XI (XI (XI XH))))))))))))))))))))))))))))))) :: ((Npos (XO (XI
+    (XI (XO (XI (XO (XI (XO (XO (XO (XI (XI (XI (XO (XI (XO (XO (XO (XI (XO
+    (XO (XO (XO (XO (XO (XI (XI (XI (XO (XO
+    XH))))))))))))))))))))))))))))))) :: ((Npos (XO (XI (XI (XO (XO (XI (XI
+    (XO (XO (XO (XI (XO (XO (XI (XO (XI (XO (XO (XO (XO (XO (XI (XI (XO (XI
+    (XO (XI XH)))))))))))))))))))))))))))) :: ((Npos (XI (XI (XI (XO (XO (XO
+    (XO (XI (XO (XI (XO (XO (XI (XI (XI (XO (XI (XO (XO (XO (XI (XO (XI (XO
+    (XO (XI (XO (XO (XI (XI (XI XH)))))))))))))))))))))))))))))))) :: ((Npos
+    (XO (XO (XO (XI (XI (XO (XI (XI (XO (XI (XO (XO (XO (XI (XO (XI (XI (XO
+    (XO (XO (XO (XI (XI (XI (XO (XO (XO (XI (XI (XO (XI
+    XH)))))))))))))))))))))))))))))))) :: ((Npos (XO (XO (XO (XI (XI (XO (XO
+    (XI (XI (XI (XO (XO (XO (XI (XI (XO (XI (XO (XO (XI (XI (XO (XO (XO (XO
+    (XO (XI (XO (XO (XI XH))))))))))))))))))))))))))))))) :: ((Npos (XO (XI
+    (XO (XI (XO (XO (XI (XO (XO (XO (XI (XI (XO (XI (XO (XO (XO (XI (XI (XO
+    (XO (XO (XO (XI (XO (XO (XI (XI (XO (XO (XI
+    XH)))))))))))))))))))))))))))))))) :: ((Npos (XI (XO (XO (XO (XI (XO (XO
+    (XI (XI (XO (XO (XI (XI (XI (XI (XO (XO (XI (XO (XO (XI (XO (XO (XO (XO
+    (XI (XO (XI (XO (XI XH))))))))))))))))))))))))))))))) :: ((Npos (XO (XI
+    (XI (XI (XI (XO (XO (XI (XI (XO (XO (XO (XO (XO (XO (XI (XI (XO (XI (XO
+    (XO (XI (XI (XI (XO (XI (XI (XO (XI (XI (XO
+    XH)))))))))))))))))))))))))))))))) :: ((Npos (XI (XO (XI (XO (XI (XI (XO
+    (XO (XI (XO (XO (XI (XI (XI (XI (XO (XI (XO (XO (XO (XO (XI (XI (XI (XO
+    (XO (XI (XO (XI (XO XH))))))))))))))))))))))))))))))) :: ((Npos (XO (XO
+    (XO (XO (XI (XO (XO (XO (XO (XO (XI (XI (XO (XI (XO (XO (XI (XO (XO (XI
+    (XI (XO (XO (XI (XI (XO (XI (XI (XI
+    XH)))))))))))))))))))))))))))))) :: ((Npos (XI (XO (XI (XO (XI (XI (XO
+    (XI (XO (XI (XI (XO (XO (XI (XO (XO (XO (XO (XI (XI (XO (XI (XI (XO (XI
+    (XO (XO (XO (XI (XI (XI XH)))))))))))))))))))))))))))))))) :: ((Npos (XI
+    (XO (XO (XO (XI (XI (XO (XI (XI (XI (XO (XI (XI (XO (XO (XO (XO (XO (XI
+    (XO (XI (XO (XI (XI (XO (XO (XI (XO (XO (XO (XI
+    XH)))))))))))))))))))))))))))))))) :: ((Npos (XI (XO (XI (XO (XI (XI (XO
+    (XO (XO (XI (XO (XI (XI (XO (XI (XI (XI (XO (XO (XO (XI (XO (XO (XO (XI
+    (XO (XO (XI XH))))))))))))))))))))))))))))) :: ((Npos (XI (XI (XO (XO (XO
+    (XI (XO (XO (XO (XO (XI (XO (XO (XO (XO (XO (XI (XO (XO (XI (XI (XI (XI
+    (XI (XO (XI (XO (XI (XO (XI (XO
+    XH)))))))))))))))))))))))))))))))) :: ((Npos (XO (XI (XO (XI (XO (XI (XO
+    (XI (XO (XO (XO (XO (XO (XO (XO (XO (XO (XO (XI (XO (XI (XO (XO (XI (XO
+    (XI (XO (XO XH))))))))))))))))))))))))))))) :: ((Npos (XI (XI (XI (XO (XI
+    (XO (XO (XO (XO (XI (XO (XO (XO (XO (XI (XI (XO (XO (XO (XO (XI (XI (XI
+    (XO (XI (XI (XI XH)))))))))))))))))))))))))))) :: ((Npos (XI (XO (XI (XI
+    (XO (XI (XI (XI (XO (XI (XO (XI (XO (XI (XO (XI (XI (XI (XO (XO (XI (XO
+    (XI (XI (XI (XO (XO (XO (XI (XI (XI
+    XH)))))))))))))))))))))))))))))))) :: ((Npos (XO (XO (XO (XO (XI (XO (XI
+    (XO (XO (XI (XO (XO (XI (XI (XO (XO (XO (XI (XI (XO (XO (XI (XI (XI (XI
+    (XO (XI (XI (XI (XO XH))))))))))))))))))))))))))))))) :: ((Npos (XI (XO
+    (XO (XI (XO (XO (XI (XO (XO (XO (XO (XO (XO (XO (XO (XI (XO (XI (XI (XI
+    (XO (XI (XI (XO (XI (XI (XI (XO (XI (XI (XI
+    XH)))))))))))))))))))))))))))))))) :: ((Npos (XO (XO (XO (XI (XI (XI (XO
+    (XO (XI (XI (XI (XO (XO (XO (XI (XO (XO (XI (XO (XO (XI (XO (XO (XI (XO
+    (XI XH))))))))))))))))))))))))))) :: ((Npos (XI (XO (XO (XO (XO (XO (XO
+    (XO (XO (XI (XO (XO (XO (XI (XO (XO (XI (XO (XO (XI (XI (XI (XO (XO (XI
+    (XI (XO (XO (XI (XI (XO XH)))))))))))))))))))))))))))))))) :: ((Npos (XI
+    (XO (XI (XO (XI (XO (XO (XO (XI (XI (XO (XO (XI (XO (XI (XI (XO (XO (XI
+    (XI (XO (XI (XI (XI (XI (XI (XI (XI (XI (XI (XI
+    XH)))))))))))))))))))))))))))))))) :: ((Npos (XO (XO (XI (XI (XI (XI (XI
+    (XO (XI (XI (XI (XI (XO (XI (XI (XI (XO (XO (XO (XO (XI (XI (XO (XI (XO
+    (XO (XO (XO (XI (XO (XI XH)))))))))))))))))))))))))))))))) :: ((Npos (XI
+    (XI (XO (XI (XI (XI (XO (XI (XO (XI (XO (XO (XO (XI (XI (XO (XO (XO (XI
+    (XI (XI (XI (XI (XO (XI (XI (XO (XI (XI
+    XH)))))))))))))))))))))))))))))) :: ((Npos (XI (XI (XI (XO (XO (XI (XI
+    (XI (XO (XO (XO (XI (XO (XO (XO (XI (XO (XI (XO (XO (XO (XO (XI (XI (XI
+    (XO (XI (XI XH))))))))))))))))))))))))))))) :: ((Npos (XO (XI (XI (XO (XI
+    (XI (XI (XO (XI (XI (XI (XI (XO (XI (XO (XI (XI (XO (XI (XI (XI (XO (XI
+    (XI (XI (XI (XI (XO (XO (XO XH))))))))))))))))))))))))))))))) :: ((Npos
+    (XI (XO (XO (XO (XO (XO (XO (XI (XO (XI (XO (XO (XO (XI (XO (XI (XI (XO
+    (XI (XO (XO (XI (XO (XI (XO (XI (XO (XO (XI (XI (XO
+    XH)))))))))))))))))))))))))))))))) :: ((Npos (XI (XO (XI (XO (XI (XO (XO
+    (XI (XO (XI (XI (XI (XI (XI (XI (XI (XI (XI (XO (XI (XO (XI (XO (XO (XO
+    (XI (XI (XO (XO XH)))))))))))))))))))))))))))))) :: ((Npos (XI (XI (XI
+    (XO (XI (XO (XO (XI (XI (XO (XO (XI (XI (XI (XO (XI (XO (XI (XO (XO (XI
+    (XI (XI (XO (XI (XO (XI (XO (XI (XI (XO
+    XH)))))))))))))))))))))))))))))))) :: ((Npos (XI (XI (XI (XI (XI (XI (XO
+    (XI (XI (XI (XI (XI (XO (XO (XI (XO (XO (XI (XO (XO (XO (XO (XO (XO (XI
+    (XO (XI (XI XH))))))))))))))))))))))))))))) :: ((Npos (XO (XI (XI (XI (XI
+    (XO (XI (XO (XO (XI (XO (XO (XO (XI (XI (XI (XO (XI (XO (XO (XO (XI (XO
+    (XO (XO (XO (XO (XO (XO (XI (XO
+    XH)))))))))))))))))))))))))))))))) :: ((Npos (XI (XO (XO (XO (XO (XO (XO
+    (XO (XO (XI (XO (XO (XI (XO (XO (XI (XI (XO (XO (XI (XI (XI (XO (XI (XO
+    (XI (XI (XI (XO (XO (XO XH)))))))))))))))))))))))))))))))) :: ((Npos (XI
+    (XO (XI (XI (XO (XI (XO (XI (XO (XI (XO (XI (XI (XI (XI (XO (XI (XO (XI
+    (XI (XO (XO (XI (XO (XO (XI (XI (XO (XI (XO (XO
+    XH)))))))))))))))))))))))))))))))) :: ((Npos (XI (XI (XO (XO (XO (XO (XO
+    (XO (XI (XO (XO (XI (XI (XO (XI (XI (XO (XI (XO (XI (XI (XI (XI (XI (XO
+    XH)))))))))))))))))))))))))) :: ((Npos (XI (XI (XO (XI (XO (XI (XO (XO
+    (XI (XI (XO (XI (XO (XO (XO (XO (XI (XO (XI (XI (XI (XO (XO (XO (XI (XO
+    (XI (XO (XO (XI (XI XH)))))))))))))))))))))))))))))))) :: ((Npos (XO (XO
+    (XI (XI (XO (XI (XI (XI (XO (XO (XI (XI (XO (XO (XI (XI (XI (XI (XI (XO
+    (XO (XI (XI (XO (XO (XI (XO (XI (XI (XI (XI
+    XH)))))))))))))))))))))))))))))))) :: ((Npos (XO (XI (XI (XO (XI (XO (XO
+    (XI (XI (XO (XO (XI (XI (XI (XO (XO (XO (XI (XO (XI (XO (XO (XI (XI (XO
+    (XO (XO (XI XH))))))))))))))))))))))))))))) :: ((Npos (XI (XO (XO (XI (XO
+    (XO (XI (XO (XO (XI (XO (XO (XI (XI (XI (XO (XO (XI (XI (XO (XO (XI (XO
+    (XO XH))))))))))))))))))))))))) :: ((Npos (XI (XI (XI (XO (XI (XO (XI (XO
+    (XO (XO (XO (XO (XI (XO (XO (XO (XI (XI (XO (XO (XI (XI (XO (XO (XI (XI
+    (XI (XI (XO (XO (XO XH)))))))))))))))))))))))))))))))) :: ((Npos (XO (XI
+    (XI (XI (XI (XO (XO (XI (XI (XO (XO (XI (XI (XO (XI (XI (XI (XO (XO (XO
+    (XO (XI (XI (XO (XI (XI (XI (XI (XI (XI
+    XH))))))))))))))))))))))))))))))) :: ((Npos (XO (XO (XI (XO (XO (XO (XO
+    (XO (XO (XO (XO (XO (XI (XO (XI (XI (XO (XO (XI (XO (XI (XI (XI (XI (XI
+    (XI (XI (XO (XO (XI XH))))))))))))))))))))))))))))))) :: ((Npos (XI (XO
+    (XI (XO (XO (XO (XI (XI (XO (XI (XO (XO (XI (XO (XO (XI (XI (XO (XO (XO
+    (XI (XO (XO (XI (XO (XI (XO (XO (XO
+    XH)))))))))))))))))))))))))))))) :: ((Npos (XO (XO (XO (XI (XO (XI (XO
+    (XI (XI (XI (XO (XO (XO (XO (XI (XO (XO (XO (XI (XO (XI (XI (XI (XO (XI
+    (XO (XO (XI (XI (XI XH))))))))))))))))))))))))))))))) :: ((Npos (XO (XI
+    (XO (XI (XO (XI (XO (XO (XI (XI (XO (XO (XO (XI (XO (XO (XI (XI (XO (XI
+    (XO (XO (XI (XI (XO (XI (XO (XO (XI
+    XH)))))))))))))))))))))))))))))) :: ((Npos (XI (XO (XO (XO (XO (XO (XI
+    (XO (XI (XO (XO (XI (XI (XI (XI (XI (XO (XI (XO (XO (XI (XO (XI (XI (XI
+    (XI (XI (XI (XI (XO (XO XH)))))))))))))))))))))))))))))))) :: ((Npos (XO
+    (XI (XI (XI (XI (XI (XI (XO (XI (XO (XO (XI (XO (XI (XO (XO (XO (XI (XO
+    (XI (XO (XI (XI (XO (XO (XI (XI (XI (XI
+    XH)))))))))))))))))))))))))))))) :: ((Npos (XO (XO (XO (XO (XI (XI (XI
+    (XI (XO (XO (XI (XI (XI (XO (XI (XO (XO (XO (XO (XO (XO (XO (XI (XI (XI
+    (XO (XO (XO (XI (XI (XO XH)))))))))))))))))))))))))))))))) :: ((Npos (XO
+    (XI (XI (XI (XO (XI (XI (XI (XO (XO (XO (XI (XI (XO (XI (XI (XI (XO (XO
+    (XO (XO (XO (XI (XO (XO (XI (XI (XO (XI
+    XH)))))))))))))))))))))))))))))) :: ((Npos (XO (XO (XO (XI (XO (XO (XI
+    (XI (XO (XO (XO (XI (XI (XO (XI (XO (XI (XO (XO (XI (XI (XO (XO (XI (XI
+    (XO (XO (XI (XI (XI (XI XH)))))))))))))))))))))))))))))))) :: ((Npos (XO
+    (XO (XO (XO (XO (XI (XI (XI (XI (XI (XI (XO (XO (XO (XI (XO (XO (XI (XI
+    (XI (XI (XO (XI (XO (XO (XI (XO (XI (XI (XO (XO
+    XH)))))))))))))))))))))))))))))))) :: ((Npos (XI (XI (XI (XO (XI (XI (XO
+    (XI (XO (XI (XO (XI (XO (XO (XI (XI (XI (XO (XO (XI (XI (XI (XI (XI (XO
+    (XI (XO (XI (XI XH)))))))))))))))))))))))))))))) :: ((Npos (XO (XO (XO
+    (XI (XO (XO (XO (XO (XO (XO (XO (XO (XO (XO (XO (XI (XI (XI (XO (XO (XO
+    (XO (XI (XO (XO (XO (XI (XO (XO (XO (XI
+    XH)))))))))))))))))))))))))))))))) :: ((Npos (XI (XI (XI (XI (XI (XO (XO
+    (XO (XI (XI (XI (XI (XI (XO (XI (XI (XI (XO (XI (XI (XO (XI (XO (XO (XO
+    (XI (XI (XI XH))))))))))))))))))))))))))))) :: ((Npos (XO (XI (XO (XO (XI
+    (XI (XI (XI (XI (XO (XI (XO (XI (XI (XO (XI (XI (XO (XI (XI (XI (XI (XI
+    (XO (XO (XI (XO XH)))))))))))))))))))))))))))) :: ((Npos (XO (XO (XO (XO
+    (XO (XI (XI (XI (XI (XI (XI (XO (XI (XO (XI (XI (XO (XO (XO (XO (XI (XI
+    (XO (XO (XI (XI (XI (XI (XO (XI
+    XH))))))))))))))))))))))))))))))) :: ((Npos (XO (XO (XO (XI (XO (XI (XO
+    (XO (XI (XO (XO (XI (XI (XI (XO (XI (XI (XI (XI (XI (XI (XO (XO (XO (XO
+    (XO (XI (XI (XI (XO (XO XH)))))))))))))))))))))))))))))))) :: ((Npos (XO
+    (XI (XO (XO (XO (XO (XO (XO (XI (XO (XI (XI (XI (XO (XO (XI (XO (XI (XO
+    (XI (XO (XI (XO (XI (XI (XO (XO (XO (XO
+    XH)))))))))))))))))))))))))))))) :: ((Npos (XI (XO (XI (XO (XI (XI (XO
+    (XI (XO (XI (XO (XO (XI (XO (XI (XI (XI (XO (XI (XO (XO (XO (XO (XO (XI
+    (XI (XI (XO (XI (XI XH))))))))))))))))))))))))))))))) :: ((Npos (XI (XO
+    (XO (XI (XI (XI (XO (XI (XI (XI (XI (XI (XI (XO (XI (XO (XI (XI (XI (XI
+    (XI (XI (XO (XO (XO (XO (XI (XO XH))))))))))))))))))))))))))))) :: ((Npos
+    (XO (XO (XI (XO (XI (XI (XO (XI (XO (XO (XI (XO (XO (XI (XO (XI (XI (XI
+    (XI (XO (XO (XI (XO (XI (XO (XI (XO (XO (XI (XI (XI
+    XH)))))))))))))))))))))))))))))))) :: ((Npos (XO (XO (XO (XO (XO (XO (XI
+    (XO (XI (XI (XO (XI (XO (XO (XO (XO (XI (XO (XI (XO (XI (XI (XO (XI (XI
+    (XI (XI (XO (XI (XO (XI XH)))))))))))))))))))))))))))))))) :: ((Npos (XO
+    (XI (XI (XI (XI (XI (XO (XO (XO (XO (XO (XO (XI (XI (XO (XO (XO (XO (XO
+    (XI (XI (XO (XI (XI (XI (XO (XI (XI (XI (XI
+    XH))))))))))))))))))))))))))))))) :: ((Npos (XI (XO (XO (XO (XI (XO (XI
+    (XO (XO (XI (XI (XI (XO (XI (XI (XO (XO (XO (XI (XO (XI (XI (XO (XO (XI
+    (XO (XO (XO (XO (XO XH))))))))))))))))))))))))))))))) :: ((Npos (XO (XO
+    (XO (XI (XO (XO (XI (XO (XO (XO (XO (XI (XI (XO (XO (XI (XI (XO (XO (XI
+    (XI (XO (XO (XO (XI (XO (XO (XI (XI
+    XH)))))))))))))))))))))))))))))) :: ((Npos (XO (XO (XO (XO (XO (XO (XI
+    (XO (XO (XO (XO (XO (XO (XO (XO (XO (XI (XI (XO (XI (XO (XI (XO (XO (XI
+    (XO (XI (XO (XI XH)))))))))))))))))))))))))))))) :: ((Npos (XO (XI (XI
+    (XO (XI (XI (XI (XO (XI (XI (XI (XO (XI (XI (XI (XI (XO (XI (XO (XI (XO
+    (XO (XO (XI (XO (XI (XI (XI (XO (XI
+    XH))))))))))))))))))))))))))))))) :: ((Npos (XI (XI (XI (XO (XO (XI (XO
+    (XO (XO (XI (XI (XI (XO (XI (XI (XI (XI (XO (XO (XI (XO (XI (XO (XI (XI
+    (XI (XI (XI (XO (XI XH))))))))))))))))))))))))))))))) :: ((Npos (XI (XI
+    (XI (XO (XI (XI (XO (XO (XO (XO (XI (XO (XO (XO (XI (XI (XO (XO (XI (XI
+    (XO (XI (XI (XI (XO (XO (XI (XO (XI (XO (XO
+    XH)))))))))))))))))))))))))))))))) :: ((Npos (XI (XI (XO (XO (XO (XI (XI
+    (XI (XI (XI (XI (XI (XO (XO (XO (XI (XI (XO (XI (XO (XI (XO (XO (XI (XO
+    (XO (XO (XO (XO (XI (XO XH)))))))))))))))))))))))))))))))) :: ((Npos (XO
+    (XI (XO (XO (XO (XI (XO (XI (XO (XI (XI (XI (XI (XO (XI (XI (XO (XO (XO
+    (XO (XO (XI (XI (XI (XO (XI (XO (XO (XI (XI
+    XH))))))))))))))))))))))))))))))) :: ((Npos (XI (XO (XO (XO (XI (XO (XI
+    (XO (XI (XI (XO (XI (XI (XI (XI (XO (XI (XO (XO (XO (XO (XI (XI (XO (XO
+    (XI (XO (XO (XO (XI XH))))))))))))))))))))))))))))))) :: ((Npos (XI (XI
+    (XI (XO (XI (XI (XI (XO (XO (XO (XO (XI (XI (XO (XO (XI (XO (XI (XI (XO
+    (XI (XI (XI (XI (XO (XI (XO XH)))))))))))))))))))))))))))) :: ((Npos (XI
+    (XO (XO (XO (XI (XI (XI (XI (XO (XI (XI (XI (XO (XI (XI (XI (XI (XO (XO
+    (XI (XI (XI (XI (XO (XO (XI (XI (XO (XI (XI (XO
+    XH)))))))))))))))))))))))))))))))) :: ((Npos (XO (XO (XI (XO (XO (XO (XI
+    (XO (XI (XI (XO (XO (XI (XO (XI (XI (XI (XO (XO (XI (XI (XI (XO (XO (XI
+    (XI (XO (XI (XI (XI XH))))))))))))))))))))))))))))))) :: ((Npos (XO (XO
+    (XI (XO (XO (XO (XO (XO (XI (XO (XO (XO (XI (XI (XO (XI (XI (XO (XI (XO
+    (XO (XI (XO (XI (XI (XO (XI XH)))))))))))))))))))))))))))) :: ((Npos (XO
+    (XI (XI (XO (XO (XI (XI (XO (XI (XI (XO (XI (XI (XI (XI (XI (XI (XI (XO
+    (XO (XI (XI (XO (XI (XO (XO (XO (XI (XO (XI (XI
+    XH)))))))))))))))))))))))))))))))) :: ((Npos (XI (XO (XO (XI (XO (XI (XO
+    (XO (XI (XO (XI (XO (XI (XI (XI (XI (XO (XO (XO (XO (XO (XI (XO (XO (XI
+    (XI (XI (XI (XI (XO XH))))))))))))))))))))))))))))))) :: ((Npos (XO (XO
+    (XI (XI (XI (XI (XO (XI (XO (XO (XO (XI (XI (XO (XI (XO (XI (XI (XO (XO
+    (XO (XI (XO (XO (XO (XI (XO (XI (XO (XI
+    XH))))))))))))))))))))))))))))))) :: ((Npos (XI (XI (XO (XI (XO (XI (XI
+    (XI (XI (XI (XI (XI (XI (XO (XO (XI (XO (XO (XO (XO (XI (XO (XI (XI (XO
+    (XI (XO (XO (XI (XO (XO XH)))))))))))))))))))))))))))))))) :: ((Npos (XI
+    (XI (XI (XO (XI (XI (XO (XO (XO (XI (XI (XI (XI (XI (XO (XI (XO (XO (XO
+    (XO (XI (XO (XI (XO (XO (XI (XO (XO
+    XH))))))))))))))))))))))))))))) :: ((Npos (XI (XI (XI (XO (XO (XO (XO (XO
+    (XO (XO (XI (XO (XO (XI (XI (XI (XO (XI (XI (XI (XI (XI (XI (XI (XO (XO
+    (XO (XO (XO (XO (XI XH)))))))))))))))))))))))))))))))) :: ((Npos (XI (XI
+    (XI (XO (XO (XI (XO (XI (XO (XI (XO (XI (XO (XO (XO (XO (XO (XO (XO (XI
+    (XO (XI (XO (XI (XI (XO (XI (XO (XO (XI (XI
+    XH)))))))))))))))))))))))))))))))) :: ((Npos (XO (XI (XI (XO (XO (XO (XO
+    (XI (XO (XO (XO (XI (XO (XI (XO (XO (XI (XO (XO (XI (XI (XI (XI (XI (XO
+    (XI (XI (XI (XO (XO (XO XH)))))))))))))))))))))))))))))))) :: ((Npos (XO
+    (XO (XO (XI (XO (XI (XO (XO (XO (XO (XI (XI (XI (XO (XO (XI (XI (XI (XO
+    (XO (XO (XO (XI (XI (XI (XI (XI (XI (XI (XO (XI
+    XH)))))))))))))))))))))))))))))))) :: ((Npos (XI (XI (XI (XI (XO (XO (XO
+    (XO (XO (XO (XO (XI (XI (XI (XO (XO (XO (XI (XI (XI (XI (XO (XO (XO (XI
+    (XI (XI (XI XH))))))))))))))))))))))))))))) :: ((Npos (XO (XI (XO (XI (XI
+    (XO (XI (XO (XI (XO (XO (XI (XO (XI (XO (XO (XI (XO (XO (XI (XI (XI (XO
+    (XI (XO (XO (XO XH)))))))))))))))))))))))))))) :: ((Npos (XO (XO (XO (XI
+    (XI (XI (XO (XO (XI (XO (XO (XI (XO (XO (XO (XO (XO (XO (XI (XI (XO (XI
+    (XO (XI (XO (XO (XI (XO (XI (XI (XI
+    XH)))))))))))))))))))))))))))))))) :: ((Npos (XO (XO (XI (XI (XO (XO (XI
+    (XI (XI (XI (XI (XO (XI (XI (XO (XO (XI (XO (XO (XO (XI (XO (XO (XI (XO
+    (XO (XI (XO (XI (XI (XO XH)))))))))))))))))))))))))))))))) :: ((Npos (XI
+    (XI (XI (XI (XO (XO (XO (XI (XI (XO (XO (XI (XI (XO (XO (XI (XO (XI (XI
+    (XO (XI (XO (XI (XO (XI (XI (XO (XO (XI (XO (XI
+    XH)))))))))))))))))))))))))))))))) :: ((Npos (XO (XI (XI (XI (XI (XI (XI
+    (XI (XO (XI (XO (XO (XO (XO (XO (XI (XO (XI (XO (XI (XO (XO (XI (XI (XI
+    (XI (XO (XO XH))))))))))))))))))))))))))))) :: ((Npos (XI (XO (XI (XI (XO
+    (XI (XO (XO (XO (XI (XO (XI (XO (XI (XO (XO (XO (XI (XI (XO (XI (XI (XO
+    (XO (XO (XI (XO (XI (XI XH)))))))))))))))))))))))))))))) :: ((Npos (XI
+    (XI (XI (XO (XO (XO (XI (XO (XO (XI (XI (XO (XI (XI (XO (XI (XO (XO (XI
+    (XI (XO (XI (XO (XO (XO (XI (XO (XI (XI (XI (XO
+    XH)))))))))))))))))))))))))))))))) :: ((Npos (XO (XO (XI (XO (XO (XO (XO
+    (XI (XO (XO (XI (XI (XI (XO (XI (XO (XO (XO (XO (XI (XO (XO (XI (XO (XI
+    (XO (XI (XO (XI (XI (XO XH)))))))))))))))))))))))))))))))) :: ((Npos (XO
+    (XI (XO (XO (XO (XI (XO (XO (XO (XO (XO (XO (XO (XO (XI (XO (XI (XI (XI
+    (XO (XI (XO (XO (XI (XO (XI (XI (XO (XO (XO (XO
+    XH)))))))))))))))))))))))))))))))) :: ((Npos (XO (XO (XI (XO (XI (XI (XO
+    (XO (XO (XI (XI (XI (XO (XO (XI (XO (XO (XO (XI (XO (XO (XO (XO (XI (XI
+    (XI (XI (XI (XI (XI XH))))))))))))))))))))))))))))))) :: ((Npos (XI (XO
+    (XI (XI (XI (XO (XI (XO (XO (XO (XO (XO (XI (XO (XO (XO (XO (XI (XI (XO
+    (XI (XO (XI (XO (XI (XO (XO (XO (XO (XO (XI
+    XH)))))))))))))))))))))))))))))))) :: ((Npos (XI (XO (XI (XI (XO (XI (XI
+    (XI (XO (XI (XO (XO (XO (XI (XO (XI (XO (XO (XI (XI (XO (XO (XI (XO (XO
+    (XO (XO (XO (XO (XO (XI XH)))))))))))))))))))))))))))))))) :: ((Npos (XO
+    (XO (XI (XI (XI (XO (XO (XI (XO (XO (XI (XI (XI (XO (XI (XI (XO (XO (XI
+    (XI (XI (XI (XI (XI (XO (XI (XO (XI (XI (XO (XI
+    XH)))))))))))))))))))))))))))))))) :: ((Npos (XI (XO (XI (XI (XI (XI (XO
+    (XO (XO (XI (XO (XI (XI (XO (XI (XO (XI (XI (XI (XI (XI (XO (XI (XI (XO
+    (XO (XO (XO (XO (XI (XO XH)))))))))))))))))))))))))))))))) :: ((Npos (XO
+    (XI (XI (XO (XI (XI (XI (XO (XO (XO (XO (XI (XI (XI (XI (XO (XI (XO (XI
+    (XI (XI (XO (XI (XI (XI (XO (XI (XI (XO (XO (XI
+    XH)))))))))))))))))))))))))))))))) :: ((Npos (XO (XI (XO (XI (XI (XO (XO
+    (XO (XI (XI (XI (XI (XO (XO (XI (XO (XO (XO (XI (XO (XO (XO (XO (XO (XI
+    (XO (XI (XO (XI (XI XH))))))))))))))))))))))))))))))) :: ((Npos (XI (XO
+    (XI (XI (XI (XO (XO (XO (XI (XI (XO (XO (XO (XI (XO (XO (XO (XO (XI (XO
+    (XI (XI (XO (XO (XI (XO (XO (XO (XI (XO (XI
+    XH)))))))))))))))))))))))))))))))) :: ((Npos (XO (XI (XO (XO (XO (XO (XI
+    (XI (XI (XI (XO (XO (XI (XO (XO (XI (XI (XI (XO (XO (XI (XO (XO (XI (XO
+    (XO (XI (XI (XO (XO (XO XH)))))))))))))))))))))))))))))))) :: ((Npos (XO
+    (XO (XO (XO (XI (XI (XO (XI (XO (XI (XI (XI (XI (XO (XI (XO (XI (XI (XO
+    (XI (XO (XO (XO (XI (XO (XO (XI (XI (XO
+    XH)))))))))))))))))))))))))))))) :: ((Npos (XO (XO (XI (XO (XO (XO (XI
+    (XO (XI (XO (XI (XO (XO (XO (XI (XI (XO (XI (XO (XI (XO (XI (XO (XI (XO
+    (XO (XI (XO (XI (XI XH))))))))))))))))))))))))))))))) :: ((Npos (XO (XI
+    (XO (XO (XI (XI (XO (XO (XO (XO (XO (XI (XO (XI (XO (XI (XI (XI (XO (XI
+    (XO (XI (XI (XO (XI (XO (XO (XO (XO (XO
+    XH))))))))))))))))))))))))))))))) :: ((Npos (XO (XI (XI (XI (XI (XI (XO
+    (XO (XO (XI (XO (XI (XO (XO (XI (XI (XI (XO (XI (XI (XO (XI (XO (XO (XI
+    (XO (XO (XO (XI (XO (XO XH)))))))))))))))))))))))))))))))) :: ((Npos (XI
+    (XO (XO (XO (XI (XI (XI (XI (XO (XO (XO (XI (XI (XO (XI (XO (XO (XI (XO
+    (XI (XI (XI (XO (XI (XO (XI (XI (XO (XO (XI (XI
+    XH)))))))))))))))))))))))))))))))) :: ((Npos (XI (XO (XI (XO (XO (XI (XI
+    (XO (XI (XO (XO (XO (XI (XO (XI (XO (XI (XO (XI (XO (XI (XO (XO (XI (XO
+    (XO (XO (XO (XI (XI XH))))))))))))))))))))))))))))))) :: ((Npos (XI (XO
+    (XI (XO (XI (XO (XO (XI (XO (XI (XO (XI (XO (XI (XI (XO (XI (XO (XO (XO
+    (XI (XI (XO (XI (XI (XO (XI (XI (XO (XI (XO
+    XH)))))))))))))))))))))))))))))))) :: ((Npos (XO (XO (XO (XO (XO (XO (XO
+    (XO (XI (XI (XO (XO (XO (XI (XO (XI (XO (XO (XO (XI (XO (XO (XO (XO (XO
+    (XO (XO (XI (XI (XI (XI XH)))))))))))))))))))))))))))))))) :: ((Npos (XI
+    (XI (XI (XI (XI (XI (XI (XI (XO (XI (XO (XI (XO (XI (XO (XO (XO (XI (XO
+    (XO (XO (XI (XI (XI (XI (XI (XO (XI (XO (XO
+    XH))))))))))))))))))))))))))))))) :: ((Npos (XO (XO (XI (XI (XI (XO (XO
+    (XO (XO (XI (XO (XO (XI (XO (XI (XI (XO (XI (XO (XO (XO (XI (XI (XI (XO
+    (XI (XO (XO (XO (XO (XI XH)))))))))))))))))))))))))))))))) :: ((Npos (XO
+    (XO (XO (XI (XI (XI (XI (XI (XI (XO (XI (XO (XI (XO (XO (XO (XO (XO (XI
+    (XI (XO (XI (XI (XO (XI (XI (XO (XI (XI (XO (XI
+    XH)))))))))))))))))))))))))))))))) :: ((Npos (XO (XO (XI (XI (XO (XI (XI
+    (XO (XI (XI (XI (XI (XO (XO (XI (XI (XO (XI (XI (XO (XI (XO (XO (XI (XO
+    (XO (XO (XI XH))))))))))))))))))))))))))))) :: ((Npos (XI (XO (XI (XI (XI
+    (XO (XO (XO (XO (XI (XI (XI (XO (XI (XO (XI (XI (XI (XI (XO (XO (XI (XI
+    (XI (XO (XO (XI (XO (XO (XO XH))))))))))))))))))))))))))))))) :: ((Npos
+    (XO (XI (XO (XI (XO (XO (XO (XO (XI (XO (XO (XO (XO (XO (XI (XI (XO (XI
+    (XI (XI (XI (XO (XI (XI (XI (XI (XO (XO (XO (XI (XI
+    XH)))))))))))))))))))))))))))))))) :: ((Npos (XI (XO (XO (XI (XO (XO (XO
+    (XI (XI (XI (XI (XI (XO (XI (XO (XI (XO (XO (XO (XI (XI (XO (XO (XI (XI
+    (XI (XI (XI (XI XH)))))))))))))))))))))))))))))) :: ((Npos (XI (XO (XI
+    (XO (XI (XI (XO (XI (XI (XO (XO (XI (XO (XI (XO (XO (XO (XI (XO (XI (XI
+    (XI (XI (XO (XO (XI (XI (XO (XI (XO (XI
+    XH)))))))))))))))))))))))))))))))) :: ((Npos (XI (XO (XO (XO (XI (XO (XI
+    (XI (XO (XI (XO (XO (XI (XO (XI (XO (XI (XO (XO (XI (XI (XI (XI (XI (XI
+    (XO (XI (XO (XI (XI XH))))))))))))))))))))))))))))))) :: ((Npos (XI (XI
+    (XI (XO (XO (XO (XO (XI (XO (XI (XO (XI (XI (XI (XI (XO (XI (XI (XO (XI
+    (XO (XI (XI (XI (XI (XI (XO (XI (XI (XI
+    XH))))))))))))))))))))))))))))))) :: ((Npos (XI (XO (XI (XO (XI (XO (XO
+    (XO (XO (XO (XI (XO (XI (XI (XI (XI (XO (XI (XO (XI (XI (XI (XO (XO (XI
+    (XI (XI (XO (XO (XO XH))))))))))))))))))))))))))))))) :: ((Npos (XI (XO
+    (XI (XO (XI (XI (XI (XI (XO (XI (XI (XO (XI (XI (XO (XO (XI (XO (XI (XO
+    (XO (XI (XI (XI (XI (XI (XI (XI (XI
+    XH)))))))))))))))))))))))))))))) :: ((Npos (XI (XI (XO (XI (XO (XO (XO
+    (XO (XI (XI (XI (XI (XI (XO (XI (XO (XO (XI (XO (XO (XI (XI (XO (XI (XI
+    (XO (XO (XO (XO (XI (XO XH)))))))))))))))))))))))))))))))) :: ((Npos (XI
+    (XI (XO (XO (XO (XI (XI (XI (XI (XO (XO (XO (XI (XI (XI (XO (XO (XO (XI
+    (XO (XI (XO (XI (XO (XI (XO (XO (XI (XO (XO (XI
+    XH)))))))))))))))))))))))))))))))) :: ((Npos (XI (XI (XI (XO (XI (XI (XO
+    (XO (XO (XO (XO (XO (XO (XO (XO (XI (XI (XI (XI (XI (XO (XI (XO (XO (XO
+    (XI (XO (XO (XO (XO (XO XH)))))))))))))))))))))))))))))))) :: ((Npos (XO
+    (XO (XO (XO (XI (XO (XI (XI (XO (XO (XI (XI (XI (XO (XO (XO (XO (XI (XO
+    (XO (XO (XO (XI (XI (XO (XO (XI (XI (XO
+    XH)))))))))))))))))))))))))))))) :: ((Npos (XI (XI (XI (XO (XI (XO (XI
+    (XO (XI (XI (XO (XI (XI (XO (XO (XO (XI (XI (XI (XI (XI (XO (XO (XO (XO
+    (XI (XO (XI (XI (XO (XO XH)))))))))))))))))))))))))))))))) :: ((Npos (XO
+    (XO (XO (XO (XO (XI (XO (XO (XI (XI (XO (XO (XO (XO (XI (XO (XO (XO (XO
+    (XO (XI (XO (XI (XO (XI (XO (XI (XI (XI (XI (XI
+    XH)))))))))))))))))))))))))))))))) :: ((Npos (XI (XI (XI (XO (XO (XI (XO
+    (XO (XI (XO (XO (XO (XI (XI (XI (XI (XO (XI (XO (XI (XI (XI (XO (XO (XI
+    (XO (XI (XI (XO (XI XH))))))))))))))))))))))))))))))) :: ((Npos (XO (XO
+    (XO (XO (XO (XO (XI (XO (XO (XO (XI (XO (XO (XI (XO (XO (XO (XO (XO (XO
+    (XI (XO (XO (XO (XI (XI (XI (XO (XO (XO
+    XH))))))))))))))))))))))))))))))) :: ((Npos (XO (XI (XI (XI (XI (XO (XO
+    (XO (XI (XO (XI (XO (XO (XO (XO (XO (XO (XI (XI (XI (XO (XI (XI (XO (XO
+    (XO (XO (XI (XI XH)))))))))))))))))))))))))))))) :: ((Npos (XO (XO (XO
+    (XO (XO (XI (XI (XI (XO (XI (XO (XI (XO (XO (XO (XI (XO (XO (XI (XI (XI
+    (XO (XI (XI XH))))))))))))))))))))))))) :: ((Npos (XI (XI (XO (XI (XO (XI
+    (XI (XO (XO (XO (XI (XI (XI (XI (XI (XO (XI (XO (XI (XO (XI (XI (XO (XO
+    (XI (XO (XI (XI (XI (XI (XO XH)))))))))))))))))))))))))))))))) :: ((Npos
+    (XO (XO (XO (XO (XI (XI (XI (XI (XO (XO (XI (XI (XO (XI (XO (XO (XI (XI
+    (XI (XI (XO (XO (XO (XI (XI (XI (XO (XO (XI (XO (XI
+    XH)))))))))))))))))))))))))))))))) :: ((Npos (XO (XO (XO (XI (XO (XI (XI
+    (XI (XO (XI (XI (XI (XI (XI (XI (XO (XI (XO (XI (XO (XO (XI (XI (XI (XI
+    (XO (XO (XO (XO (XI XH))))))))))))))))))))))))))))))) :: ((Npos (XO (XI
+    (XO (XO (XI (XO (XI (XI (XI (XO (XO (XO (XI (XO (XI (XI (XI (XO (XO (XI
+    (XO (XO (XO (XI (XI (XO (XO (XO (XI (XI
+    XH))))))))))))))))))))))))))))))) :: ((Npos (XO (XO (XI (XI (XI (XO (XO
+    (XI (XO (XO (XI (XO (XI (XI (XO (XO (XI (XI (XI (XI (XI (XO (XI (XO (XI
+    (XI (XO (XO (XI XH)))))))))))))))))))))))))))))) :: ((Npos (XO (XO (XO
+    (XO (XI (XI (XO (XO (XO (XI (XI (XO (XO (XI (XO (XI (XI (XI (XI (XI (XI
+    (XO (XI (XO (XI (XI (XO (XO (XO (XO (XI
+    XH)))))))))))))))))))))))))))))))) :: ((Npos (XO (XI (XI (XI (XI (XO (XO
+    (XI (XO (XO (XI (XO (XO (XI (XI (XO (XO (XI (XI (XO (XI (XO (XI (XO (XO
+    (XI (XI (XI (XI (XI (XI XH)))))))))))))))))))))))))))))))) :: ((Npos (XI
+    (XO (XI (XO (XO (XO (XO (XO (XO (XI (XO (XO (XI (XO (XO (XO (XI (XI (XO
+    (XO (XO (XI (XO (XO (XO (XI (XO (XI (XI (XI (XO
+    XH)))))))))))))))))))))))))))))))) :: ((Npos (XI (XO (XI (XI (XI (XO (XO
+    (XO (XI (XO (XO (XO (XI (XO (XI (XI (XO (XO (XO (XI (XI (XI (XO (XI (XI
+    (XI (XI (XO (XO XH)))))))))))))))))))))))))))))) :: ((Npos (XO (XI (XI
+    (XO (XO (XO (XI (XI (XI (XI (XO (XI (XO (XO (XO (XI (XI (XO (XI (XO (XO
+    (XI (XI (XO (XO (XI (XI (XO (XO
+    XH)))))))))))))))))))))))))))))) :: ((Npos (XI (XI (XO (XO (XO (XO (XO
+    (XI (XI (XO (XI (XI (XI (XI (XO (XI (XI (XI (XI (XI (XI (XI (XI (XO (XI
+    (XO (XI XH)))))))))))))))))))))))))))) :: ((Npos (XI (XI (XI (XO (XO (XI
+    (XI (XO (XO (XI (XI (XI (XI (XI (XI (XO (XO (XO (XO (XI (XI (XO (XI (XO
+    (XO (XI (XO (XO XH))))))))))))))))))))))))))))) :: ((Npos (XI (XI (XI (XI
+    (XI (XO (XO (XI (XI (XI (XI (XI (XI (XO (XO (XO (XI (XI (XO (XI (XO (XO
+    (XI (XO (XI (XI (XI (XO (XO (XO
+    XH))))))))))))))))))))))))))))))) :: ((Npos (XI (XI (XI (XI (XI (XI (XO
+    (XO (XO (XI (XO (XI (XI (XO (XI (XO (XI (XO (XI (XI (XI (XI (XO (XO (XO
+    (XI (XI (XI (XI (XI (XO XH)))))))))))))))))))))))))))))))) :: ((Npos (XI
+    (XO (XI (XI (XI (XI (XO (XO (XO (XI (XO (XO (XO (XI (XI (XO (XI (XO (XO
+    (XI (XO (XI (XO (XI (XO (XI (XI (XI (XO
+    XH)))))))))))))))))))))))))))))) :: ((Npos (XI (XO (XI (XO (XO (XI (XO
+    (XI (XI (XO (XO (XO (XO (XI (XI (XI (XI (XI (XI (XI (XI (XO (XI (XI (XI
+    (XI (XI (XI (XI (XO XH))))))))))))))))))))))))))))))) :: ((Npos (XO (XO
+    (XI (XI (XO (XO (XO (XO (XI (XI (XO (XO (XI (XI (XI (XO (XI (XO (XO (XO
+    (XO (XI (XO (XO (XO (XI (XI (XI (XO (XI
+    XH))))))))))))))))))))))))))))))) :: ((Npos (XO (XO (XI (XI (XI (XO (XI
+    (XI (XO (XI (XI (XO (XI (XI (XO (XI (XI (XI (XO (XO (XI (XO (XO (XI (XO
+    (XI (XO (XO (XI (XI (XI XH)))))))))))))))))))))))))))))))) :: ((Npos (XI
+    (XO (XO (XO (XO (XI (XI (XI (XI (XI (XO (XI (XO (XI (XO (XI (XO (XI (XI
+    (XO (XI (XO (XI (XO (XO (XI (XO (XI (XO (XI (XI
+    XH)))))))))))))))))))))))))))))))) :: ((Npos (XI (XI (XO (XO (XO (XI (XI
+    (XO (XI (XI (XO (XO (XO (XI (XI (XI (XO (XI (XI (XO (XI (XO (XO (XI (XO
+    (XI (XI (XO (XI (XO (XO XH)))))))))))))))))))))))))))))))) :: ((Npos (XI
+    (XI (XO (XO (XI (XI (XI (XI (XO (XI (XI (XI (XO (XI (XI (XO (XI (XO (XI
+    (XO (XI (XI (XO (XI (XI (XO (XI (XI (XO
+    XH)))))))))))))))))))))))))))))) :: ((Npos (XO (XO (XO (XO (XO (XO (XO
+    (XO (XO (XO (XO (XO (XO (XI (XO (XI (XI (XO (XO (XO (XI (XO (XO (XO (XO
+    (XI (XI (XI (XI (XI XH))))))))))))))))))))))))))))))) :: ((Npos (XO (XO
+    (XO (XO (XI (XI (XO (XI (XI (XO (XI (XO (XI (XI (XI (XO (XI (XO (XO (XO
+    (XO (XI (XI (XI (XI (XO (XI (XI (XI (XI (XI
+    XH)))))))))))))))))))))))))))))))) :: ((Npos (XO (XO (XI (XI (XO (XI (XI
+    (XO (XO (XI (XO (XO (XO (XI (XI (XO (XI (XI (XO (XI (XI (XO (XO (XO (XO
+    (XI (XI (XO (XO (XO (XI XH)))))))))))))))))))))))))))))))) :: ((Npos (XI
+    (XO (XO (XO (XI (XI (XO (XI (XO (XI (XI (XI (XO (XO (XI (XI (XO (XI (XO
+    (XO (XO (XI (XI (XI (XI (XO (XO (XO (XO
+    XH)))))))))))))))))))))))))))))) :: ((Npos (XI (XI (XO (XI (XO (XO (XI
+    (XO (XI (XI (XO (XO (XO (XO (XO (XO (XO (XO (XO (XI (XI (XI (XO (XI (XO
+    (XI (XI (XI (XI (XO (XI XH)))))))))))))))))))))))))))))))) :: ((Npos (XO
+    (XI (XO (XO (XO (XI (XO (XI (XI (XI (XO (XI (XO (XO (XO (XO (XO (XI (XI
+    (XI (XO (XO (XI (XO (XI (XI (XO (XI (XO (XI
+    XH))))))))))))))))))))))))))))))) :: ((Npos (XI (XI (XO (XI (XI (XO (XO
+    (XI (XI (XO (XO (XO (XO (XO (XI (XO (XI (XO (XO (XI (XO (XI (XO (XO (XI
+    (XI (XI (XI (XO (XI (XI XH)))))))))))))))))))))))))))))))) :: ((Npos (XO
+    (XI (XI (XI (XO (XI (XI (XI (XO (XO (XI (XO (XI (XO (XI (XI (XI (XI (XO
+    (XI XH))))))))))))))))))))) :: ((Npos (XO (XI (XI (XO (XO (XI (XO (XI (XI
+    (XO (XO (XO (XI (XI (XI (XI (XO (XI (XO (XI (XO (XI (XO (XI
+    XH))))))))))))))))))))))))) :: ((Npos (XO (XI (XI (XI (XI (XO (XI (XI (XO
+    (XO (XO (XI (XI (XO (XI (XO (XI (XO (XO (XO (XO (XI (XO (XI (XO (XO (XO
+    (XI (XI (XI XH))))))))))))))))))))))))))))))) :: ((Npos (XO (XO (XO (XI
+    (XO (XO (XI (XO (XO (XO (XO (XI (XI (XO (XO (XI (XI (XI (XO (XO (XI (XO
+    (XI (XI (XI (XI (XO (XO (XI XH)))))))))))))))))))))))))))))) :: ((Npos
+    (XO (XI (XO (XO (XO (XI (XO (XI (XO (XO (XO (XO (XO (XO (XO (XO (XI (XI
+    (XO (XO (XI (XI (XO (XI (XI (XO (XO (XI
+    XH))))))))))))))))))))))))))))) :: ((Npos (XI (XI (XI (XO (XI (XI (XO (XI
+    (XO (XO (XI (XO (XO (XO (XI (XO (XI (XO (XI (XO (XI (XO (XO (XO (XI (XO
+    (XI (XI (XI XH)))))))))))))))))))))))))))))) :: ((Npos (XI (XI (XO (XI
+    (XI (XI (XI (XI (XO (XO (XI (XI (XO (XO (XI (XI (XI (XI (XI (XI (XI (XI
+    (XI (XO (XO (XI (XI (XI (XO (XI
+    XH))))))))))))))))))))))))))))))) :: ((Npos (XI (XI (XI (XI (XI (XI (XO
+    (XI (XI (XI (XI (XO (XO (XO (XI (XO (XI (XO (XI (XO (XO (XO (XI (XO (XO
+    (XI (XO (XI (XO (XO (XI XH)))))))))))))))))))))))))))))))) :: ((Npos (XO
+    (XI (XI (XI (XI (XI (XI (XO (XI (XI (XO (XI (XO (XI (XI (XI (XO (XI (XO
+    (XO (XI (XI (XI (XO (XI (XO (XO (XI (XI (XO
+    XH))))))))))))))))))))))))))))))) :: ((Npos (XO (XO (XO (XI (XO (XO (XI
+    (XI (XO (XI (XO (XI (XI (XI (XI (XO (XI (XO (XO (XI (XI (XI (XI (XI (XI
+    (XI (XO (XO (XI (XI (XO XH)))))))))))))))))))))))))))))))) :: ((Npos (XI
+    (XI (XO (XI (XO (XI (XI (XO (XI (XI (XO (XO (XI (XI (XI (XI (XI (XI (XI
+    (XO (XO (XO (XO (XI (XO (XO (XO (XO (XI (XO
+    XH))))))))))))))))))))))))))))))) :: ((Npos (XI (XI (XI (XI (XI (XI (XI
+    (XI (XO (XO (XI (XO (XI (XI (XI (XO (XI (XI (XI (XO (XI (XO (XO (XI (XO
+    (XO (XO (XI (XI (XI (XO XH)))))))))))))))))))))))))))))))) :: ((Npos (XO
+    (XO (XI (XI (XO (XI (XI (XI (XO (XI (XO (XI (XI (XO (XI (XI (XO (XO (XO
+    (XO (XO (XI (XI (XI (XO (XO (XI (XO (XI (XI (XO
+    XH)))))))))))))))))))))))))))))))) :: ((Npos (XO (XI (XI (XO (XI (XI (XI
+    (XI (XI (XI (XO (XI (XI (XI (XI (XO (XI (XI (XO (XI (XO (XI (XO (XI (XI
+    (XI (XI (XO (XI (XO (XO XH)))))))))))))))))))))))))))))))) :: ((Npos (XI
+    (XI (XI (XO (XI (XO (XI (XO (XI (XO (XO (XO (XI (XI (XO (XI (XO (XI (XI
+    (XI (XI (XO (XI (XO (XI (XO (XO (XI (XO (XO
+    XH))))))))))))))))))))))))))))))) :: ((Npos (XO (XI (XI (XI (XO (XO (XO
+    (XO (XO (XI (XO (XO (XI (XO (XO (XI (XI (XI (XI (XO (XO (XI (XI (XO (XO
+    (XO (XO (XI (XO (XO (XI XH)))))))))))))))))))))))))))))))) :: ((Npos (XI
+    (XO (XO (XI (XI (XO (XO (XI (XO (XO (XI (XI (XO (XI (XO (XO (XI (XO (XO
+    (XI (XO (XO (XO (XI (XI (XO (XO XH)))))))))))))))))))))))))))) :: ((Npos
+    (XI (XO (XI (XO (XO (XI (XI (XI (XO (XI (XO (XO (XI (XO (XO (XO (XI (XO
+    (XI (XI (XO (XO (XI (XO (XI (XO (XI (XI
+    XH))))))))))))))))))))))))))))) :: ((Npos (XO (XI (XI (XO (XI (XI (XI (XI
+    (XI (XO (XO (XI (XO (XI (XO (XI (XI (XO (XI (XI (XO (XO (XO (XO (XO (XI
+    (XI (XI (XO (XI (XI XH)))))))))))))))))))))))))))))))) :: ((Npos (XO (XI
+    (XI (XO (XO (XO (XO (XI (XO (XO (XO (XI (XO (XI (XO (XI (XO (XO (XI (XO
+    (XI (XI (XI (XO (XI (XI (XO (XI (XI (XO (XI
+    XH)))))))))))))))))))))))))))))))) :: ((Npos (XI (XI (XO (XI (XO (XO (XI
+    (XO (XO (XI (XI (XI (XI (XI (XO (XI (XI (XI (XO (XI (XI (XO (XI (XI (XI
+    (XO (XI (XO (XI XH)))))))))))))))))))))))))))))) :: ((Npos (XO (XO (XO
+    (XI (XO (XO (XI (XI (XI (XO (XI (XO (XO (XO (XI (XI (XO (XO (XI (XO (XI
+    (XI (XO (XI (XO (XI (XO (XO (XI (XO (XI
+    XH)))))))))))))))))))))))))))))))) :: ((Npos (XI (XO (XO (XO (XI (XO (XI
+    (XO (XI (XO (XO (XO (XI (XO (XI (XI (XO (XI (XI (XO (XO (XO (XI (XO (XI
+    (XI (XO (XI (XO (XI XH))))))))))))))))))))))))))))))) :: ((Npos (XI (XO
+    (XI (XO (XI (XO (XI (XO (XI (XO (XI (XI (XO (XO (XI (XI (XO (XI (XO (XO
+    (XI (XO (XO (XO (XO (XI (XI (XI (XO
+    XH)))))))))))))))))))))))))))))) :: ((Npos (XO (XO (XO (XI (XO (XO (XI
+    (XO (XI (XO (XO (XI (XO (XO (XI (XI (XI (XO (XI (XO (XO (XI (XI (XO (XI
+    (XO (XI (XO (XI XH)))))))))))))))))))))))))))))) :: ((Npos (XI (XI (XO
+    (XO (XI (XI (XI (XO (XO (XI (XI (XI (XI (XI (XI (XI (XO (XO (XO (XO (XI
+    (XI (XO (XO (XI (XO (XO (XO (XI (XI
+    XH))))))))))))))))))))))))))))))) :: ((Npos (XO (XO (XI (XO (XI (XI (XI
+    (XI (XO (XI (XI (XO (XI (XI (XI (XO (XI (XO (XI (XO (XI (XO (XO (XI (XI
+    (XO (XO (XI (XI (XI (XI XH)))))))))))))))))))))))))))))))) :: ((Npos (XO
+    (XO (XO (XO (XI (XI (XO (XO (XI (XI (XO (XO (XI (XI (XO (XO (XO (XI (XO
+    (XO (XI (XO (XO (XO (XO (XI XH))))))))))))))))))))))))))) :: ((Npos (XI
+    (XI (XO (XI (XO (XO (XI (XI (XO (XI (XO (XI (XI (XI (XI (XO (XO (XO (XI
+    (XI (XI (XI (XI (XI (XI (XO (XI XH)))))))))))))))))))))))))))) :: ((Npos
+    (XI (XO (XO (XO (XI (XI (XI (XO (XO (XO (XI (XO (XO (XI (XO (XI (XO (XI
+    (XO (XI (XI (XI (XO (XI (XI (XO (XI (XI (XI (XI (XO
+    XH)))))))))))))))))))))))))))))))) :: ((Npos (XO (XO (XI (XI (XO (XO (XO
+    (XI (XO (XO (XI (XO (XO (XI (XO (XO (XO (XO (XI (XO (XO (XI (XO (XO (XO
+    (XI (XI (XI (XI (XI (XO XH)))))))))))))))))))))))))))))))) :: ((Npos (XI
+    (XO (XI (XO (XO (XI (XI (XI (XI (XI (XI (XO (XO (XO (XI (XI (XI (XI (XO
+    (XO (XI (XO (XI (XO (XI (XI (XI (XI
+    XH))))))))))))))))))))))))))))) :: ((Npos (XI (XO (XO (XI (XI (XI (XO (XO
+    (XI (XO (XO (XI (XO (XO (XO (XI (XI (XI (XO (XO (XI (XI (XO (XI (XO (XO
+    (XI (XI (XO (XO XH))))))))))))))))))))))))))))))) :: ((Npos (XO (XI (XI
+    (XO (XO (XO (XI (XO (XI (XO (XI (XI (XI (XO (XO (XO (XI (XI (XO (XI (XO
+    (XI (XO (XO (XI (XI (XO (XI XH))))))))))))))))))))))))))))) :: ((Npos (XI
+    (XI (XI (XO (XO (XO (XO (XI (XO (XI (XO (XO (XI (XI (XI (XO (XI (XO (XO
+    (XI (XO (XI (XI (XO (XI (XI (XI (XI (XO (XI
+    XH))))))))))))))))))))))))))))))) :: ((Npos (XO (XI (XO (XO (XI (XO (XO
+    (XO (XI (XI (XO (XO (XO (XI (XI (XI (XO (XI (XI (XI (XI (XI (XI (XI (XO
+    (XI (XI (XO (XI XH)))))))))))))))))))))))))))))) :: ((Npos (XO (XI (XI
+    (XO (XI (XO (XI (XO (XI (XI (XO (XO (XO (XI (XI (XI (XO (XO (XI (XI (XI
+    (XO (XO (XO (XI (XI (XI (XO (XO (XI (XI
+    XH)))))))))))))))))))))))))))))))) :: ((Npos (XO (XI (XO (XO (XO (XO (XO
+    (XI (XO (XI (XI (XI (XO (XO (XO (XI (XI (XO (XI (XI (XI (XI (XI (XI (XI
+    (XI (XO (XI (XO (XO (XI XH)))))))))))))))))))))))))))))))) :: ((Npos (XI
+    (XI (XI (XI (XI (XO (XO (XO (XO (XI (XO (XI (XI (XI (XO (XO (XI (XO (XI
+    (XI (XO (XO (XI (XO (XO (XO (XI (XO (XI (XO
+    XH))))))))))))))))))))))))))))))) :: ((Npos (XO (XO (XO (XO (XI (XO (XO
+    (XO (XO (XO (XO (XI (XO (XI (XI (XI (XI (XI (XO (XI (XI (XI (XI (XO (XI
+    (XO (XI (XO (XI (XI XH))))))))))))))))))))))))))))))) :: ((Npos (XO (XI
+    (XI (XO (XO (XI (XO (XI (XO (XO (XI (XO (XI (XO (XI (XO (XI (XI (XI (XI
+    (XI (XI (XI (XO (XO (XI (XI (XO (XI (XI (XO
+    XH)))))))))))))))))))))))))))))))) :: ((Npos (XO (XO (XO (XI (XI (XO (XI
+    (XI (XI (XI (XO (XO (XO (XO (XI (XO (XI (XO (XO (XO (XO (XO (XO (XI (XI
+    (XO (XO (XO (XI XH)))))))))))))))))))))))))))))) :: ((Npos (XI (XO (XI
+    (XO (XI (XI (XO (XO (XI (XO (XI (XI (XI (XO (XO (XO (XO (XI (XO (XO (XO
+    (XO (XI (XO (XO (XO (XO (XI (XO (XI (XO
+    XH)))))))))))))))))))))))))))))))) :: ((Npos (XO (XI (XI (XO (XO (XI (XI
+    (XO (XI (XO (XO (XI (XI (XI (XO (XI (XO (XO (XI (XO (XI (XI (XI (XI (XI
+    (XO (XO XH)))))))))))))))))))))))))))) :: ((Npos (XO (XO (XI (XO (XO (XI
+    (XI (XO (XO (XO (XI (XI (XI (XO (XI (XO (XO (XI (XO (XO (XI (XO (XI (XO
+    (XO (XO (XO (XO (XO (XO XH))))))))))))))))))))))))))))))) :: ((Npos (XI
+    (XI (XO (XO (XO (XO (XO (XI (XI (XI (XI (XI (XO (XI (XI (XO (XI (XO (XO
+    (XO (XI (XI (XI (XI (XO (XI (XO (XI (XI (XI (XI
+    XH)))))))))))))))))))))))))))))))) :: ((Npos (XO (XO (XI (XI (XO (XI (XO
+    (XI (XO (XO (XO (XO (XO (XO (XO (XO (XI (XO (XI (XO (XI (XI (XO (XO (XO
+    (XI (XI (XO (XI (XO (XI XH)))))))))))))))))))))))))))))))) :: ((Npos (XO
+    (XI (XO (XI (XI (XI (XO (XI (XO (XI (XI (XO (XI (XI (XI (XI (XO (XO (XI
+    (XO (XI (XO (XO (XI (XI (XO (XO (XI
+    XH))))))))))))))))))))))))))))) :: ((Npos (XO (XI (XI (XI (XI (XI (XI (XI
+    (XI (XI (XO (XO (XI (XI (XO (XI (XI (XO (XI (XI (XO (XI (XO (XO (XO (XI
+    (XI (XO XH))))))))))))))))))))))))))))) :: ((Npos (XO (XI (XO (XI (XI (XI
+    (XO (XO (XO (XO (XO (XO (XO (XO (XI (XO (XO (XO (XI (XI (XO (XO (XO (XO
+    (XO (XI (XO (XI (XO (XI XH))))))))))))))))))))))))))))))) :: ((Npos (XI
+    (XI (XI (XO (XO (XI (XI (XO (XI (XI (XI (XI (XI (XI (XI (XI (XI (XI (XO
+    (XI (XO (XI (XI (XO (XI (XO (XI (XO (XO (XO (XI
+    XH)))))))))))))))))))))))))))))))) :: ((Npos (XO (XO (XI (XO (XO (XI (XO
+    (XI (XI (XI (XI (XI (XI (XO (XO (XO (XO (XI (XI (XI (XO (XI (XO (XO (XO
+    (XO (XI XH)))))))))))))))))))))))))))) :: ((Npos (XO (XO (XO (XO (XO (XO
+    (XI (XI (XI (XI (XI (XO (XO (XI (XI (XO (XI (XI (XI (XO (XI (XI (XI (XI
+    (XO (XI (XO (XI XH))))))))))))))))))))))))))))) :: ((Npos (XO (XI (XI (XI
+    (XO (XI (XO (XO (XI (XI (XO (XI (XI (XO (XI (XI (XO (XO (XI (XI (XO (XI
+    (XI (XI (XO (XI (XI (XO (XO (XI (XO
+    XH)))))))))))))))))))))))))))))))) :: ((Npos (XO (XO (XI (XO (XI (XI (XO
+    (XO (XI (XO (XO (XI (XI (XI (XO (XI (XO (XI (XO (XO (XO (XO (XO (XI (XO
+    (XI (XI (XI (XI (XO (XI XH)))))))))))))))))))))))))))))))) :: ((Npos (XI
+    (XI (XI (XO (XI (XI (XO (XI (XO (XO (XI (XI (XI (XO (XI (XI (XI (XO (XI
+    (XI (XI (XO (XO (XI (XI (XO (XO (XI (XO (XO
+    XH))))))))))))))))))))))))))))))) :: ((Npos (XO (XO (XI (XO (XO (XO (XO
+    (XI (XI (XI (XO (XO (XO (XI (XO (XI (XO (XO (XO (XI (XI (XI (XO (XO (XI
+    (XO (XO (XI (XO (XI XH))))))))))))))))))))))))))))))) :: ((Npos (XO (XO
+    (XI (XO (XI (XI (XO (XO (XO (XO (XO (XI (XO (XO (XO (XI (XO (XI (XO (XI
+    (XI (XI (XO (XO (XI (XO (XI (XI (XI (XI (XO
+    XH)))))))))))))))))))))))))))))))) :: ((Npos (XI (XI (XO (XI (XO (XI (XO
+    (XO (XI (XO (XI (XI (XI (XI (XO (XI (XO (XI (XO (XI (XO (XO (XI (XO (XO
+    (XO (XO (XO (XO (XI (XI XH)))))))))))))))))))))))))))))))) :: ((Npos (XO
+    (XO (XO (XI (XI (XI (XI (XO (XO (XI (XI (XI (XO (XO (XI (XO (XO (XO (XO
+    (XO (XI (XO (XO (XO (XI (XO (XI (XI (XI (XI (XO
+    XH)))))))))))))))))))))))))))))))) :: ((Npos (XO (XI (XO (XI (XI (XI (XO
+    (XI (XO (XI (XI (XO (XI (XO (XI (XI (XO (XI (XO (XI (XI (XO (XI (XO (XO
+    (XI (XO (XI XH))))))))))))))))))))))))))))) :: ((Npos (XO (XI (XI (XO (XI
+    (XI (XO (XO (XI (XI (XO (XO (XI (XO (XO (XI (XO (XI (XO (XO (XI (XO (XI
+    (XI (XI (XI (XO XH)))))))))))))))))))))))))))) :: ((Npos (XI (XO (XI (XI
+    (XO (XI (XI (XO (XI (XI (XI (XO (XO (XO (XO (XO (XI (XO (XI (XI (XI (XI
+    (XO (XI (XO XH)))))))))))))))))))))))))) :: ((Npos (XI (XI (XI (XO (XO
+    (XI (XO (XO (XO (XO (XI (XO (XI (XI (XI (XI (XI (XI (XO (XI (XO (XI (XI
+    (XI (XO (XI (XI (XI (XO (XO XH))))))))))))))))))))))))))))))) :: ((Npos
+    (XI (XI (XI (XO (XI (XI (XO (XO (XO (XO (XO (XO (XO (XO (XO (XO (XI (XI
+    (XI (XO (XI (XI (XI (XI (XO (XO (XI (XI (XO (XI (XO
+    XH)))))))))))))))))))))))))))))))) :: ((Npos (XO (XO (XO (XI (XO (XO (XO
+    (XO (XI (XO (XI (XO (XI (XO (XO (XI (XO (XI (XI (XO (XI (XI (XI (XO (XO
+    (XO (XO (XI (XO XH)))))))))))))))))))))))))))))) :: ((Npos (XI (XI (XO
+    (XO (XI (XI (XI (XI (XI (XI (XI (XI (XI (XI (XI (XI (XI (XO (XO (XI (XI
+    (XI (XO (XO (XI (XI (XO (XO (XO (XI (XI
+    XH)))))))))))))))))))))))))))))))) :: ((Npos (XI (XO (XI (XO (XI (XI (XO
+    (XO (XO (XI (XI (XO (XI (XI (XO (XO (XO (XO (XO (XO (XI (XI (XO (XO
+    XH))))))))))))))))))))))))) :: ((Npos (XI (XO (XI (XI (XI (XI (XI (XI (XO
+    (XI (XI (XO (XI (XO (XO (XI (XI (XI (XO (XI (XI (XI (XO (XI (XO (XI (XO
+    (XO (XO (XO XH))))))))))))))))))))))))))))))) :: ((Npos (XO (XI (XO (XO
+    (XI (XO (XI (XO (XI (XO (XO (XI (XI (XO (XI (XI (XI (XI (XI (XO (XI (XI
+    (XI (XI (XO (XO (XO (XI (XI (XO (XI
+    XH)))))))))))))))))))))))))))))))) :: ((Npos (XO (XO (XO (XI (XI (XO (XO
+    (XO (XI (XO (XI (XI (XI (XO (XO (XI (XO (XI (XO (XI (XI (XO (XI (XO (XI
+    (XI (XO (XO (XI (XO (XI XH)))))))))))))))))))))))))))))))) :: ((Npos (XO
+    (XI (XI (XO (XI (XO (XO (XO (XI (XO (XI (XO (XI (XI (XI (XO (XO (XO (XO
+    (XI (XI (XO (XI (XO (XI (XO (XI (XI (XI (XI
+    XH))))))))))))))))))))))))))))))) :: ((Npos (XO (XI (XI (XO (XI (XO (XI
+    (XI (XI (XO (XO (XI (XO (XO (XO (XO (XI (XI (XO (XO (XI (XO (XO (XI (XO
+    (XO (XO (XI (XO (XI (XO XH)))))))))))))))))))))))))))))))) :: ((Npos (XI
+    (XI (XI (XO (XO (XI (XI (XO (XI (XI (XI (XI (XO (XI (XO (XO (XI (XI (XI
+    (XO (XO (XO (XI (XI (XO (XI (XI (XO (XI (XO (XI
+    XH)))))))))))))))))))))))))))))))) :: ((Npos (XO (XO (XO (XO (XO (XO (XI
+    (XI (XO (XI (XI (XO (XI (XO (XI (XI (XI (XI (XI (XO (XI (XI (XI (XO (XO
+    (XI (XI (XO (XI (XI (XI
+    XH)))))))))))))))))))))))))))))))) :: [])))))))))))))))))))))))))))))))))))))))))))))))))))))))))))))))))))))))))))))))))))))))))))))))))))))))))))))))))))))))))))))))))))))))))))))))))))))))))))))))))))))))))))))))))))))))))))))))))))))))))))))))))))))))))))))))))))))))))))))))))))))))))))))))
+
+(** val rFC_V2 : n list **)
+
+let rFC_V2 =
+  (Npos (XO (XO (XI (XO (XO (XO (XO (XO (XI (XI (XO (XI (XI (XI (XO (XO (XI
+    (XO (XI (XO (XO (XI (XO (XO (XI (XO (XO (XO (XO (XI
+    XH))))))))))))))))))))))))))))))) :: ((Npos (XO (XO (XO (XO (XI (XO (XO
+    (XI (XO (XO (XO (XI (XI (XI (XO (XO (XI (XI (XI (XO (XI (XO (XI (XI (XO
+    (XO (XO (XO XH))))))))))))))))))))))))))))) :: ((Npos (XO (XI (XI (XI (XI
+    (XO (XO (XI (XO (XI (XI (XO (XI (XI (XI (XI (XI (XO (XO (XO (XI (XO (XO
+    (XI (XO (XI (XI (XO (XO (XI (XO
+    XH)))))))))))))))))))))))))))))))) :: ((Npos (XO (XI (XI (XI (XI (XO (XI
+    (XI (XI (XI (XI (XI (XO (XO (XO (XO (XO (XO (XO (XI (XI (XO (XO (XI (XI
+    (XO (XI (XI XH))))))))))))))))))))))))))))) :: ((Npos (XO (XI (XO (XI (XI
+    (XO (XI (XI (XO (XI (XO (XO (XI (XO (XI (XO (XI (XI (XI (XI (XI (XI (XO
+    (XO (XO (XI (XO (XO (XI (XI (XO
+    XH)))))))))))))))))))))))))))))))) :: ((Npos (XI (XI (XO (XI (XI (XO (XO
+    (XO (XI (XO (XO (XO (XI (XI (XO (XO (XI (XI (XI (XO (XO (XO (XO (XO (XI
+    (XI (XI (XO (XI (XI (XO XH)))))))))))))))))))))))))))))))) :: ((Npos (XI
+    (XI (XI (XI (XO (XI (XO (XO (XO (XO (XI (XO (XI (XO (XO (XO (XO (XI (XO
+    (XI (XO (XO (XO (XI (XI (XO (XO (XI (XI (XO (XO
+    XH)))))))))))))))))))))))))))))))) :: ((Npos (XO (XO (XI (XO (XO (XI (XO
+    (XO (XO (XI (XI (XI (XO (XO (XO (XO (XO (XI (XO (XO (XI (XO (XO (XO (XO
+    (XO (XI (XO (XI (XI (XI XH)))))))))))))))))))))))))))))))) :: ((Npos (XO
+    (XI (XO (XO (XO (XO (XO (XI (XO (XI (XI (XI (XO (XI (XO (XO (XO (XI (XO
+    (XO (XI (XI (XI (XO (XI (XO (XI (XO (XO (XI (XO
+    XH)))))))))))))))))))))))))))))))) :: ((Npos (XO (XO (XO (XO (XO (XI (XI
+    (XO (XO (XI (XI (XI (XO (XI (XI (XI (XI (XI (XI (XO (XO (XI (XO (XO (XI
+    (XI (XO (XO (XI (XI (XI XH)))))))))))))))))))))))))))))))) :: ((Npos (XI
+    (XO (XI (XO (XI (XI (XO (XO (XO (XO (XI (XI (XI (XI (XI (XI (XI (XO (XI
+    (XI (XI (XI (XI (XO (XO (XI (XO XH)))))))))))))))))))))))))))) :: ((Npos
+    (XI (XI (XI (XI (XO (XO (XO (XI (XO (XO (XI (XI (XO (XI (XI (XI (XO (XI
+    (XO (XO (XO (XI (XI (XI (XI (XO (XI (XO (XO (XO (XO
+    XH)))))))))))))))))))))))))))))))) :: ((Npos (XI (XI (XI (XI (XO (XI (XO
+    (XO (XI (XI (XI (XI (XI (XO (XO (XO (XI (XO (XI (XO (XI (XI (XI (XO (XO
+    (XI (XI (XI (XI (XO (XI XH)))))))))))))))))))))))))))))))) :: ((Npos (XI
+    (XI (XO (XO (XO (XO (XI (XO (XO (XI (XO (XI (XO (XI (XO (XO (XI (XO (XO
+    (XO (XI (XI (XI (XI (XO (XI (XO (XO (XO (XO (XO
+    XH)))))))))))))))))))))))))))))))) :: ((Npos (XO (XI (XI (XI (XI (XO (XO
+    (XI (XO (XI (XI (XO (XI (XI (XI (XO (XO (XI (XI (XO (XO (XI (XI (XI (XI
+    (XO (XI (XI (XO (XO XH))))))))))))))))))))))))))))))) :: ((Npos (XO (XO
+    (XI (XI (XO (XO (XO (XI (XO (XO (XI (XI (XO (XO (XI (XO (XO (XO (XI (XI
+    (XI (XO (XO (XI (XO (XO (XO (XI (XI (XI (XI
+    XH)))))))))))))))))))))))))))))))) :: ((Npos (XI (XO (XO (XO (XI (XO (XO
+    (XI (XO (XI (XI (XO (XO (XO (XO (XI (XI (XI (XO (XO (XO (XO (XI (XI (XO
+    (XO (XO (XO (XI (XI (XI XH)))))))))))))))))))))))))))))))) :: ((Npos (XI
+    (XO (XI (XI (XO (XO (XO (XO (XI (XI (XI (XO (XI (XO (XO (XI (XI (XI (XI
+    (XI (XO (XO (XI (XO (XI (XI (XI (XI (XI (XI (XO
+    XH)))))))))))))))))))))))))))))))) :: ((Npos (XI (XO (XI (XI (XO (XO (XO
+    (XO (XO (XO (XI (XO (XO (XI (XO (XO (XI (XO (XO (XI (XO (XI (XI (XI (XI
+    (XO (XO (XI (XO (XO (XI XH)))))))))))))))))))))))))))))))) :: ((Npos (XI
+    (XO (XI (XI (XI (XI (XO (XO (XO (XI (XO (XI (XO (XO (XI (XI (XI (XI (XI
+    (XO (XI (XI (XI (XO (XI (XO (XO (XO
+    XH))))))))))))))))))))))))))))) :: ((Npos (XI (XI (XI (XO (XO (XO (XI (XI
+    (XI (XO (XO (XI (XI (XO (XO (XI (XI (XI (XO (XI (XO (XI (XO (XO (XO (XI
+    (XO (XI (XI (XO (XI XH)))))))))))))))))))))))))))))))) :: ((Npos (XO (XO
+    (XI (XI (XI (XO (XO (XO (XO (XO (XO (XO (XO (XO (XO (XO (XO (XO (XI (XI
+    (XI (XO (XI (XI (XI (XO (XI (XI (XI (XO (XO
+    XH)))))))))))))))))))))))))))))))) :: ((Npos (XI (XI (XO (XI (XO (XO (XI
+    (XI (XO (XI (XO (XO (XI (XI (XO (XO (XO (XI (XO (XO (XO (XI (XI (XI (XO
+    (XI (XI (XO (XI (XO (XO XH)))))))))))))))))))))))))))))))) :: ((Npos (XO
+    (XO (XI (XO (XI (XI (XI (XO (XI (XO (XO (XO (XO (XO (XI (XI (XI (XI (XI
+    (XI (XI (XO (XI (XI (XO (XI (XO (XO (XI (XO (XI
+    XH)))))))))))))))))))))))))))))))) :: ((Npos (XI (XI (XO (XO (XI (XO (XO
+    (XO (XI (XI (XO (XO (XO (XO (XI (XI (XO (XO (XO (XI (XI (XO (XO (XO (XO
+    (XI (XI (XI (XO XH)))))))))))))))))))))))))))))) :: ((Npos (XI (XO (XI
+    (XI (XO (XO (XO (XI (XO (XO (XI (XO (XI (XO (XI (XO (XI (XO (XI (XI (XO
+    (XI (XI (XO (XI (XO (XO (XI (XI (XI (XI
+    XH)))))))))))))))))))))))))))))))) :: ((Npos (XI (XO (XI (XI (XO (XO (XI
+    (XI (XO (XI (XI (XO (XO (XO (XO (XO (XO (XI (XO (XI (XO (XO (XO (XI (XI
+    (XI (XO (XI (XO (XI XH))))))))))))))))))))))))))))))) :: ((Npos (XI (XI
+    (XO (XO (XI (XI (XI (XO (XI (XO (XO (XI (XI (XO (XO (XO (XI (XO (XO (XO
+    (XO (XO (XO (XI (XI (XI (XI (XO (XO (XO (XI
+    XH)))))))))))))))))))))))))))))))) :: ((Npos (XI (XI (XI (XI (XO (XO (XI
+    (XI (XO (XO (XI (XO (XI (XO (XO (XO (XI (XI (XO (XO (XO (XI (XI (XO (XI
+    (XI (XI (XI (XO (XO (XI XH)))))))))))))))))))))))))))))))) :: ((Npos (XO
+    (XI (XI (XI (XI (XI (XO (XO (XI (XI (XO (XO (XO (XO (XI (XO (XI (XO (XO
+    (XI (XO (XI (XO (XI (XO (XO (XI (XI (XO (XI (XI
+    XH)))))))))))))))))))))))))))))))) :: ((Npos (XO (XI (XO (XO (XO (XI (XI
+    (XO (XI (XI (XI (XO (XO (XO (XO (XI (XI (XO (XO (XO (XO (XO (XI (XI (XO
+    (XO (XO (XO (XI (XI XH))))))))))))))))))))))))))))))) :: ((Npos (XO (XI
+    (XO (XO (XO (XO (XO (XO (XI (XI (XI (XI (XI (XO (XI (XI (XO (XO (XI (XO
+    (XO (XI (XO (XO (XI (XO (XI (XI (XO (XO (XO
+    XH)))))))))))))))))))))))))))))))) :: ((Npos (XI (XI (XO (XO (XI (XO (XI
+    (XO (XO (XO (XO (XO (XI (XO (XI (XO (XI (XI (XO (XI (XI (XO (XI (XI (XO
+    (XI (XO (XO (XI (XO (XI XH)))))))))))))))))))))))))))))))) :: ((Npos (XO
+    (XI (XO (XI (XO (XO (XO (XO (XI (XI (XO (XO (XO (XO (XI (XI (XI (XO (XO
+    (XI (XI (XI (XI (XI (XO (XO (XO (XO (XI (XI (XO
+    XH)))))))))))))))))))))))))))))))) :: ((Npos (XO (XI (XI (XI (XO (XI (XO
+    (XI (XO (XO (XI (XI (XO (XO (XO (XO (XO (XO (XI (XI (XO (XI (XO (XO (XO
+    (XO (XI (XI (XI (XI (XI XH)))))))))))))))))))))))))))))))) :: ((Npos (XI
+    (XI (XI (XI (XO (XO (XO (XO (XO (XI (XO (XO (XO (XI (XI (XI (XI (XO (XI
+    (XO (XI (XO (XO (XI (XI (XO (XO (XO (XI
+    XH)))))))))))))))))))))))))))))) :: ((Npos (XI (XI (XO (XO (XI (XI (XO
+    (XI (XI (XO (XI (XO (XI (XO (XI (XO (XI (XO (XI (XI (XI (XI (XI (XI (XO
+    (XI (XI (XI (XO (XI (XO XH)))))))))))))))))))))))))))))))) :: ((Npos (XO
+    (XO (XI (XI (XI (XO (XO (XO (XI (XO (XI (XO (XO (XO (XI (XI (XO (XO (XI
+    (XI (XI (XI (XO (XI (XI (XI (XI XH)))))))))))))))))))))))))))) :: ((Npos
+    (XI (XI (XO (XO (XO (XO (XO (XO (XI (XO (XO (XO (XI (XO (XO (XO (XO (XO
+    (XI (XO (XI (XI (XO (XO (XI (XI XH))))))))))))))))))))))))))) :: ((Npos
+    (XO (XO (XI (XI (XI (XI (XO (XO (XI (XI (XO (XI (XI (XO (XO (XO (XI (XO
+    (XO (XO (XO (XO (XI (XI (XO (XI (XI (XI (XI (XI (XO
+    XH)))))))))))))))))))))))))))))))) :: ((Npos (XI (XI (XI (XO (XI (XO (XO
+    (XO (XO (XI (XO (XI (XO (XI (XO (XI (XI (XI (XI (XI (XO (XI (XO (XO (XI
+    (XO (XI (XO XH))))))))))))))))))))))))))))) :: ((Npos (XI (XO (XI (XO (XI
+    (XI (XI (XI (XI (XO (XI (XO (XI (XO (XI (XI (XO (XI (XI (XI (XI (XO (XI
+    (XI (XO (XO (XO (XI (XO (XO (XO
+    XH)))))))))))))))))))))))))))))))) :: ((Npos (XO (XO (XO (XI (XO (XI (XI
+    (XI (XI (XI (XI (XO (XO (XO (XI (XI (XI (XI (XO (XI (XI (XO (XI (XO (XI
+    (XO (XI (XI (XI (XO XH))))))))))))))))))))))))))))))) :: ((Npos (XO (XO
+    (XO (XO (XI (XO (XI (XO (XO (XO (XO (XI (XO (XI (XI (XO (XI (XO (XO (XI
+    (XO (XI (XI (XI (XO (XO (XO (XI (XO (XI
+    XH))))))))))))))))))))))))))))))) :: ((Npos (XI (XO (XI (XO (XO (XI (XO
+    (XI (XI (XO (XI (XI (XO (XO (XI (XO (XO (XI (XO (XO (XI (XI (XO (XO
+    XH))))))))))))))))))))))))) :: ((Npos (XO (XO (XI (XO (XO (XO (XO (XI (XI
+    (XI (XO (XO (XI (XI (XI (XO (XI (XO (XI (XO (XO (XO (XI (XO (XO (XO (XI
+    (XI (XO (XO (XI XH)))))))))))))))))))))))))))))))) :: ((Npos (XO (XO (XO
+    (XO (XI (XI (XO (XI (XI (XI (XO (XO (XO (XI (XO (XI (XO (XI (XO (XO (XO
+    (XI (XI (XI (XO (XI (XO (XI (XO (XI (XO
+    XH)))))))))))))))))))))))))))))))) :: ((Npos (XI (XO (XI (XO (XI (XI (XI
+    (XO (XO (XO (XI (XO (XO (XI (XO (XI (XO (XO (XI (XI (XI (XO (XO (XI (XO
+    (XO (XI (XI (XO (XO (XO XH)))))))))))))))))))))))))))))))) :: ((Npos (XI
+    (XI (XO (XO (XI (XI (XI (XI (XI (XI (XI (XO (XI (XO (XI (XI (XI (XI (XI
+    (XO (XI (XI (XO (XI (XO (XO (XO (XI (XI (XI
+    XH))))))))))))))))))))))))))))))) :: ((Npos (XO (XI (XI (XI (XI (XO (XI
+    (XI (XO (XI (XO (XI (XO (XO (XO (XO (XO (XO (XI (XI (XI (XO (XI (XI (XO
+    (XI (XI (XO (XO (XI XH))))))))))))))))))))))))))))))) :: ((Npos (XO (XI
+    (XI (XI (XO (XI (XI (XI (XI (XO (XI (XI (XI (XI (XO (XO (XI (XO (XO (XO
+    (XI (XI (XI (XO (XI (XI (XI (XO (XO (XO (XI
+    XH)))))))))))))))))))))))))))))))) :: ((Npos (XI (XI (XI (XI (XO (XI (XO
+    (XI (XI (XI (XI (XI (XO (XI (XO (XI (XI (XO (XO (XO (XO (XI (XI (XO (XO
+    (XO (XO (XO (XO (XI (XO XH)))))))))))))))))))))))))))))))) :: ((Npos (XO
+    (XO (XI (XO (XI (XI (XI (XI (XO (XI (XI (XI (XO (XO (XO (XO (XI (XI (XO
+    (XO (XI (XI (XI (XI (XI (XO XH))))))))))))))))))))))))))) :: ((Npos (XI
+    (XO (XO (XI (XO (XI (XO (XO (XI (XO (XI (XO (XO (XO (XI (XO (XI (XI (XO
+    (XI (XI (XI (XO (XO (XI (XO (XI (XI (XI (XI (XI
+    XH)))))))))))))))))))))))))))))))) :: ((Npos (XO (XI (XO (XO (XI (XO (XI
+    (XO (XO (XO (XO (XO (XI (XI (XO (XI (XI (XO (XI (XO (XI (XO (XI (XO (XO
+    (XI (XI (XO (XO (XO (XO XH)))))))))))))))))))))))))))))))) :: ((Npos (XO
+    (XI (XI (XO (XO (XO (XO (XO (XI (XI (XO (XI (XI (XI (XI (XO (XI (XI (XI
+    (XO (XO (XI (XO (XO (XI (XI (XO (XO (XO (XO (XI
+    XH)))))))))))))))))))))))))))))))) :: ((Npos (XO (XO (XO (XI (XI (XI (XI
+    (XO (XI (XO (XO (XO (XO (XI (XO (XO (XI (XO (XI (XO (XO (XI (XO (XI (XI
+    (XI (XO (XO (XO XH)))))))))))))))))))))))))))))) :: ((Npos (XI (XI (XO
+    (XO (XI (XI (XI (XO (XI (XO (XO (XO (XO (XO (XO (XO (XI (XO (XI (XI (XO
+    (XI (XO (XI (XO (XO (XI (XO (XO (XO (XI
+    XH)))))))))))))))))))))))))))))))) :: ((Npos (XO (XI (XO (XO (XI (XO (XO
+    (XO (XO (XI (XO (XI (XI (XI (XO (XI (XO (XO (XI (XI (XO (XI (XO (XO (XI
+    (XO (XO (XO (XO XH)))))))))))))))))))))))))))))) :: ((Npos (XO (XO (XO
+    (XO (XO (XO (XI (XI (XI (XI (XO (XI (XI (XO (XO (XO (XO (XI (XO (XO (XO
+    (XI (XO (XI (XI (XO (XI (XO (XI (XI (XI
+    XH)))))))))))))))))))))))))))))))) :: ((Npos (XI (XI (XI (XI (XO (XI (XI
+    (XI (XO (XI (XI (XI (XO (XI (XI (XI (XI (XI (XO (XI (XO (XI (XO (XI (XO
+    (XO (XI (XI (XO (XI (XO XH)))))))))))))))))))))))))))))))) :: ((Npos (XO
+    (XO (XI (XO (XO (XI (XI (XO (XI (XI (XO (XO (XI (XI (XO (XI (XO (XI (XI
+    (XO (XO (XO (XI (XI (XI (XI (XI (XO (XI (XO (XI
+    XH)))))))))))))))))))))))))))))))) :: ((Npos (XI (XO (XI (XI (XI (XI (XI
+    (XO (XI (XO (XI (XI (XI (XI (XI (XO (XO (XI (XI (XI (XI (XI (XO (XI (XO
+    (XI (XI (XO (XI XH)))))))))))))))))))))))))))))) :: ((Npos (XO (XI (XI
+    (XI (XO (XO (XI (XI (XI (XI (XI (XO (XI (XO (XI (XI (XO (XI (XI (XI (XO
+    (XI (XO (XI (XI (XO (XO (XO (XO (XO (XI
+    XH)))))))))))))))))))))))))))))))) :: ((Npos (XO (XI (XI (XI (XO (XI (XO
+    (XI (XO (XO (XO (XO (XI (XI (XO (XI (XO (XO (XO (XO (XO (XO (XO (XO (XI
+    (XO (XI (XO (XO (XO (XO XH)))))))))))))))))))))))))))))))) :: ((Npos (XI
+    (XI (XI (XI (XI (XO (XI (XO (XO (XO (XI (XO (XI (XO (XI (XO (XI (XO (XO
+    (XO (XI (XI (XO (XI (XO (XI (XO (XO (XO (XI (XI
+    XH)))))))))))))))))))))))))))))))) :: ((Npos (XO (XI (XO (XI (XI (XI (XI
+    (XI (XI (XI (XO (XO (XO (XO (XO (XI (XO (XI (XO (XO (XO (XO (XO (XO (XO
+    (XI (XO (XI (XI (XO (XI XH)))))))))))))))))))))))))))))))) :: ((Npos (XI
+    (XO (XI (XI (XI (XO (XO (XO (XI (XI (XI (XO (XO (XI (XO (XI (XI (XI (XI
+    (XI (XO (XO (XI (XO (XO (XI (XO (XI (XI (XO (XO
+    XH)))))))))))))))))))))))))))))))) :: ((Npos (XO (XI (XO (XO (XO (XO (XO
+    (XO (XI (XO (XO (XO (XO (XI (XO (XI (XO (XO (XO (XO (XI (XI (XI (XO (XO
+    (XI (XI XH)))))))))))))))))))))))))))) :: ((Npos (XI (XI (XO (XO (XI (XI
+    (XI (XO (XO (XI (XI (XO (XO (XO (XO (XI (XI (XO (XO (XO (XI (XO (XI (XI
+    (XO (XI (XI (XO (XO (XI XH))))))))))))))))))))))))))))))) :: ((Npos (XO
+    (XI (XI (XO (XO (XO (XI (XO (XI (XO (XI (XO (XI (XO (XI (XI (XO (XO (XO
+    (XI (XO (XO (XI (XI (XO (XO (XO (XI (XI (XI
+    XH))))))))))))))))))))))))))))))) :: ((Npos (XO (XO (XI (XO (XO (XI (XO
+    (XI (XO (XO (XO (XO (XO (XO (XI (XI (XI (XO (XO (XI (XO (XO (XI (XI (XO
+    XH)))))))))))))))))))))))))) :: ((Npos (XI (XI (XO (XI (XI (XI (XI (XO
+    (XI (XI (XO (XI (XO (XO (XI (XI (XO (XI (XO (XO (XO (XO (XI (XO (XI (XI
+    (XO (XI (XO (XI (XO XH)))))))))))))))))))))))))))))))) :: ((Npos (XO (XI
+    (XI (XO (XO (XO (XI (XO (XI (XO (XI (XI (XI (XO (XO (XI (XO (XO (XO (XO
+    (XO (XO (XO (XO (XO (XI (XI (XI (XO (XI (XO
+    XH)))))))))))))))))))))))))))))))) :: ((Npos (XI (XI (XO (XI (XI (XI (XI
+    (XI (XO (XO (XO (XI (XO (XI (XI (XO (XI (XI (XO (XI (XO (XI (XI (XO (XI
+    (XO (XI (XI (XI (XI (XO XH)))))))))))))))))))))))))))))))) :: ((Npos (XO
+    (XO (XO (XI (XI (XO (XO (XI (XI (XI (XI (XO (XI (XI (XI (XO (XI (XI (XI
+    (XI (XI (XO (XI (XO (XO (XI (XO (XO (XI (XI
+    XH))))))))))))))))))))))))))))))) :: ((Npos (XI (XO (XO (XI (XO (XO (XI
+    (XO (XI (XO (XO (XI (XO (XI (XI (XO (XI (XI (XO (XO (XI (XO (XO (XO (XO
+    (XI (XI (XO (XI (XO (XO XH)))))))))))))))))))))))))))))))) :: ((Npos (XI
+    (XI (XI (XI (XO (XO (XO (XI (XI (XI (XI (XI (XO (XO (XO (XO (XO (XO (XI
+    (XI (XI (XI (XO (XI (XO (XI (XI (XI (XO (XI
+    XH))))))))))))))))))))))))))))))) :: ((Npos (XO (XI (XO (XO (XO (XI (XO
+    (XO (XO (XO (XI (XI (XO (XI (XI (XI (XO (XI (XI (XO (XO (XO (XI (XI (XO
+    (XO (XO (XO (XO (XO (XI XH)))))))))))))))))))))))))))))))) :: ((Npos (XI
+    (XI (XI (XO (XI (XO (XI (XO (XI (XI (XO (XI (XI (XO (XI (XO (XO (XI (XO
+    (XO (XI (XO (XO (XI (XO (XO (XI (XI
+    XH))))))))))))))))))))))))))))) :: ((Npos (XO (XO (XI (XI (XI (XO (XI (XO
+    (XO (XO (XI (XO (XI (XO (XI (XI (XO (XI (XI (XI (XO (XI (XI (XI (XI (XI
+    (XO XH)))))))))))))))))))))))))))) :: ((Npos (XI (XO (XO (XO (XI (XI (XI
+    (XI (XO (XO (XI (XI (XO (XO (XI (XO (XO (XI (XO (XO (XO (XO (XO (XO (XI
+    (XI (XI (XO (XO (XI (XO XH)))))))))))))))))))))))))))))))) :: ((Npos (XI
+    (XO (XO (XI (XI (XI (XO (XO (XI (XI (XO (XI (XO (XI (XI (XO (XI (XO (XO
+    (XI (XO (XI (XO (XI (XO (XO (XO (XO (XO (XI
+    XH))))))))))))))))))))))))))))))) :: ((Npos (XI (XI (XI (XO (XO (XO (XI
+    (XI (XI (XI (XI (XO (XO (XI (XI (XI (XO (XO (XO (XI (XI (XO (XI (XI (XO
+    (XO (XI (XI XH))))))))))))))))))))))))))))) :: ((Npos (XI (XO (XI (XO (XI
+    (XI (XI (XI (XI (XO (XO (XO (XO (XI (XO (XO (XO (XI (XI (XI (XI (XI (XO
+    (XO (XI (XO (XO (XI XH))))))))))))))))))))))))))))) :: ((Npos (XO (XO (XO
+    (XO (XO (XI (XI (XO (XI (XI (XI (XO (XI (XI (XO (XI (XI (XI (XI (XO (XO
+    (XI (XI (XI (XI (XI (XO (XI (XI (XO (XI
+    XH)))))))))))))))))))))))))))))))) :: ((Npos (XI (XO (XI (XI (XO (XO (XI
+    (XO (XO (XO (XI (XO (XI (XO (XI (XO (XI (XI (XI (XO (XO (XO (XI (XO (XO
+    (XI (XI (XI (XO (XI XH))))))))))))))))))))))))))))))) :: ((Npos (XO (XO
+    (XO (XI (XI (XI (XI (XO (XI (XO (XO (XI (XO (XI (XI (XI (XO (XO (XI (XO
+    (XO (XO (XI (XO (XO (XO (XO (XI (XO (XO (XI
+    XH)))))))))))))))))))))))))))))))) :: ((Npos (XO (XI (XO (XI (XI (XI (XI
+    (XO (XO (XO (XO (XI (XI (XO (XI (XI (XO (XO (XO (XI (XI (XI (XO (XO (XO
+    (XI (XI (XI (XO (XO (XI XH)))))))))))))))))))))))))))))))) :: ((Npos (XI
+    (XI (XO (XI (XI (XI (XO (XO (XI (XO (XO (XI (XI (XO (XO (XO (XO (XO (XO
+    (XI (XO (XI (XO (XO (XO (XI (XO (XO (XI
+    XH)))))))))))))))))))))))))))))) :: ((Npos (XI (XI (XI (XI (XO (XI (XI
+    (XO (XI (XO (XO (XI (XI (XO (XO (XI (XI (XO (XO (XO (XI (XO (XI (XI (XO
+    (XO (XI (XO (XI (XO (XI XH)))))))))))))))))))))))))))))))) :: ((Npos (XO
+    (XO (XI (XI (XI (XO (XO (XO (XI (XO (XO (XO (XO (XO (XI (XI (XO (XI (XO
+    (XO (XI (XI (XI (XO (XI (XI (XI (XO (XI
+    XH)))))))))))))))))))))))))))))) :: ((Npos (XI (XO (XO (XI (XO (XO (XO
+    (XI (XI (XO (XO (XO (XI (XI (XO (XI (XO (XO (XO (XO (XO (XO (XI (XO (XI
+    (XO (XI (XI (XI (XO XH))))))))))))))))))))))))))))))) :: ((Npos (XI (XO
+    (XI (XI (XO (XI (XI (XI (XI (XI (XO (XO (XO (XI (XO (XO (XI (XO (XO (XO
+    (XI (XO (XI (XO (XI (XO (XI (XO (XI (XO (XO
+    XH)))))))))))))))))))))))))))))))) :: ((Npos (XI (XI (XO (XI (XO (XI (XI
+    (XO (XI (XO (XO (XI (XO (XO (XO (XO (XI (XO (XI (XO (XO (XI (XI (XO (XI
+    (XI (XO (XO (XO XH)))))))))))))))))))))))))))))) :: ((Npos (XO (XO (XO
+    (XO (XI (XI (XO (XI (XI (XO (XO (XI (XO (XO (XO (XI (XI (XO (XI (XI (XO
+    (XO (XO (XI (XO (XI (XO (XO (XO (XO
+    XH))))))))))))))))))))))))))))))) :: ((Npos (XO (XO (XO (XO (XI (XI (XO
+    (XI (XO (XI (XI (XI (XO (XI (XO (XI (XI (XI (XO (XO (XI (XO (XI (XI (XO
+    (XO (XO (XO (XI XH)))))))))))))))))))))))))))))) :: ((Npos (XI (XO (XI
+    (XI (XO (XI (XO (XI (XI (XO (XO (XI (XI (XI (XO (XO (XI (XI (XO (XI (XI
+    (XO (XO (XO (XI (XI (XO (XI (XI (XI (XO
+    XH)))))))))))))))))))))))))))))))) :: ((Npos (XO (XO (XO (XI (XO (XO (XO
+    (XO (XI (XI (XO (XI (XI (XO (XO (XO (XI (XO (XI (XI (XO (XO (XI (XO (XO
+    (XO (XI (XO (XI (XO XH))))))))))))))))))))))))))))))) :: ((Npos (XI (XI
+    (XO (XI (XI (XO (XI (XO (XO (XI (XI (XO (XI (XI (XI (XI (XI (XI (XI (XO
+    (XO (XI (XO (XO (XO (XO (XO (XO (XO (XO
+    XH))))))))))))))))))))))))))))))) :: ((Npos (XI (XO (XI (XO (XO (XO (XO
+    (XI (XI (XO (XO (XI (XO (XI (XO (XI (XO (XI (XO (XI (XO (XO (XO (XI (XO
+    (XI (XI (XI XH))))))))))))))))))))))))))))) :: ((Npos (XO (XO (XO (XI (XI
+    (XO (XO (XO (XO (XO (XI (XO (XO (XI (XI (XO (XO (XO (XO (XI (XI (XO (XO
+    (XI (XO (XI (XO XH)))))))))))))))))))))))))))) :: ((Npos (XO (XI (XO (XI
+    (XI (XI (XO (XO (XO (XO (XO (XO (XO (XI (XO (XO (XO (XO (XI (XO (XO (XI
+    (XI (XO (XI (XO (XI (XO (XO (XI
+    XH))))))))))))))))))))))))))))))) :: ((Npos (XI (XI (XO (XO (XO (XI (XI
+    (XO (XO (XI (XO (XI (XO (XI (XO (XI (XI (XI (XI (XI (XI (XI (XI (XO (XI
+    (XO (XI (XO (XO (XO (XO XH)))))))))))))))))))))))))))))))) :: ((Npos (XO
+    (XI (XI (XO (XO (XI (XO (XO (XI (XI (XO (XO (XO (XO (XO (XO (XI (XO (XI
+    (XO (XI (XI (XO (XI (XO (XI (XI (XI
+    XH))))))))))))))))))))))))))))) :: ((Npos (XI (XI (XI (XO (XI (XI (XI (XO
+    (XI (XO (XI (XI (XI (XI (XO (XI (XO (XO (XO (XO (XI (XI (XI (XI (XO (XI
+    (XI (XI (XO (XI (XO XH)))))))))))))))))))))))))))))))) :: ((Npos (XO (XO
+    (XI (XI (XO (XI (XO (XO (XO (XI (XO (XI (XO (XO (XI (XO (XI (XO (XI (XO
+    (XO (XO (XI (XI (XI (XI (XO (XO (XO (XI (XI
+    XH)))))))))))))))))))))))))))))))) :: ((Npos (XI (XI (XO (XO (XI (XO (XO
+    (XI (XO (XI (XO (XI (XO (XO (XO (XO (XO (XO (XI (XI (XO (XO (XO (XO (XO
+    (XI (XO (XO (XI (XO XH))))))))))))))))))))))))))))))) :: ((Npos (XI (XI
+    (XI (XO (XI (XI (XO (XO (XO (XI (XO (XI (XI (XO (XO (XO (XO (XI (XO (XI
+    (XI (XI (XI (XI (XO (XO (XO (XO (XO (XI (XO
+    XH)))))))))))))))))))))))))))))))) :: ((Npos (XI (XI (XI (XI (XO (XO (XO
+    (XO (XO (XO (XI (XO (XO (XO (XO (XO (XI (XO (XO (XO (XO (XI (XO (XI (XI
+    (XO (XO (XI (XI XH)))))))))))))))))))))))))))))) :: ((Npos (XI (XI (XI
+    (XI (XO (XO (XI (XO (XO (XI (XI (XI (XO (XO (XO (XI (XI (XO (XO (XI (XI
+    (XO (XO (XO (XO (XI (XI (XI (XI
+    XH)))))))))))))))))))))))))))))) :: ((Npos (XI (XO (XO (XI (XO (XO (XI
+    (XO (XO (XI (XO (XI (XO (XI (XO (XO (XI (XI (XO (XI (XO (XI (XO (XI (XO
+    (XI (XO (XI (XO XH)))))))))))))))))))))))))))))) :: ((Npos (XI (XO (XO
+    (XO (XO (XO (XO (XO (XI (XO (XI (XI (XO (XO (XI (XO (XO (XI (XO (XI (XI
+    (XI (XO (XO (XO (XI (XO XH)))))))))))))))))))))))))))) :: ((Npos (XI (XO
+    (XO (XO (XO (XI (XO (XI (XO (XO (XI (XI (XO (XO (XO (XI (XI (XO (XO (XI
+    (XO (XO (XI (XI (XI (XI (XI (XI (XI (XO
+    XH))))))))))))))))))))))))))))))) :: ((Npos (XO (XO (XO (XO (XI (XO (XI
+    (XO (XI (XO (XI (XO (XO (XI (XO (XO (XO (XI (XI (XO (XO (XI (XO (XO (XI
+    (XO (XO (XI (XO (XO XH))))))))))))))))))))))))))))))) :: ((Npos (XO (XI
+    (XI (XO (XO (XI (XI (XO (XO (XI (XO (XO (XO (XI (XI (XI (XO (XI (XO (XO
+    (XO (XI (XI (XO (XI (XO (XO (XI (XI (XO (XI
+    XH)))))))))))))))))))))))))))))))) :: ((Npos (XI (XO (XI (XO (XO (XI (XI
+    (XO (XO (XO (XI (XI (XI (XI (XO (XO (XO (XI (XI (XI (XI (XI (XI (XO (XO
+    (XO (XI (XO (XI (XO XH))))))))))))))))))))))))))))))) :: ((Npos (XI (XI
+    (XI (XI (XI (XO (XO (XI (XI (XI (XO (XO (XI (XI (XO (XI (XI (XI (XO (XI
+    (XI (XO (XO (XI (XI (XI (XO (XO (XI (XI (XI
+    XH)))))))))))))))))))))))))))))))) :: ((Npos (XO (XO (XO (XI (XI (XO (XO
+    (XI (XI (XI (XI (XO (XI (XI (XO (XI (XI (XO (XI (XI (XI (XO (XO (XI (XI
+    (XO (XI (XO (XO (XO (XO XH)))))))))))))))))))))))))))))))) :: ((Npos (XO
+    (XO (XO (XO (XO (XI (XI (XI (XO (XO (XO (XO (XI (XI (XI (XO (XI (XO (XI
+    (XI (XI (XI (XI (XI (XI (XO (XO (XI (XI (XI (XI
+    XH)))))))))))))))))))))))))))))))) :: ((Npos (XO (XI (XI (XI (XO (XO (XO
+    (XI (XI (XO (XO (XI (XO (XO (XO (XO (XO (XI (XI (XO (XO (XO (XI (XI (XI
+    (XO (XI (XO (XI (XO XH))))))))))))))))))))))))))))))) :: ((Npos (XO (XI
+    (XI (XI (XO (XI (XO (XO (XI (XI (XO (XO (XO (XO (XI (XO (XO (XO (XO (XI
+    (XI (XI (XO (XO XH))))))))))))))))))))))))) :: ((Npos (XI (XI (XI (XO (XI
+    (XI (XO (XI (XI (XO (XI (XI (XI (XI (XI (XI (XI (XO (XO (XO (XO (XI (XO
+    (XO (XI (XI XH))))))))))))))))))))))))))) :: ((Npos (XO (XO (XO (XO (XI
+    (XO (XO (XO (XO (XO (XO (XO (XI (XI (XI (XI (XI (XO (XO (XI (XI (XI (XI
+    (XO (XO (XO (XO (XI (XI (XI XH))))))))))))))))))))))))))))))) :: ((Npos
+    (XO (XI (XI (XO (XO (XI (XI (XI (XI (XO (XI (XI (XO (XI (XO (XO (XI (XO
+    (XO (XO (XI (XO (XO (XO (XO (XO (XO (XI (XI (XO (XO
+    XH)))))))))))))))))))))))))))))))) :: ((Npos (XO (XI (XO (XO (XI (XI (XI
+    (XI (XO (XO (XI (XI (XI (XO (XO (XI (XO (XO (XO (XI (XI (XO (XI (XO (XO
+    (XI (XO (XO (XI (XO XH))))))))))))))))))))))))))))))) :: ((Npos (XI (XI
+    (XO (XI (XI (XI (XI (XI (XI (XO (XI (XI (XO (XI (XO (XO (XI (XI (XO (XI
+    (XI (XO (XI (XO (XI (XI (XO (XO (XI (XI (XI
+    XH)))))))))))))))))))))))))))))))) :: ((Npos (XI (XO (XI (XI (XI (XI (XI
+    (XI (XI (XI (XO (XI (XI (XO (XO (XI (XI (XO (XO (XO (XI (XI (XO (XI (XI
+    (XO (XI (XI XH))))))))))))))))))))))))))))) :: ((Npos (XI (XI (XO (XO (XI
+    (XO (XO (XO (XO (XI (XI (XI (XI (XI (XO (XO (XI (XO (XO (XO (XI (XO (XO
+    (XI (XO (XI (XO (XO XH))))))))))))))))))))))))))))) :: ((Npos (XI (XO (XI
+    (XI (XI (XO (XI (XO (XO (XO (XI (XO (XI (XO (XI (XO (XO (XO (XO (XO (XI
+    (XI (XI (XO (XI (XO (XI (XO (XI (XO (XI
+    XH)))))))))))))))))))))))))))))))) :: ((Npos (XI (XI (XI (XO (XO (XI (XI
+    (XI (XO (XO (XI (XI (XO (XI (XI (XI (XO (XO (XI (XO (XI (XI (XO (XO (XO
+    (XO (XI (XI (XO (XI (XO XH)))))))))))))))))))))))))))))))) :: ((Npos (XO
+    (XI (XI (XO (XO (XO (XI (XO (XI (XI (XO (XI (XI (XI (XO (XI (XI (XO (XO
+    (XO (XO (XO (XO (XI (XO (XO (XO XH)))))))))))))))))))))))))))) :: ((Npos
+    (XO (XI (XO (XO (XI (XI (XO (XI (XI (XO (XI (XO (XO (XI (XO (XI (XI (XO
+    (XO (XO (XI (XI (XI (XO (XI (XO (XO (XI (XO (XO
+    XH))))))))))))))))))))))))))))))) :: ((Npos (XO (XI (XI (XO (XI (XI (XO
+    (XO (XI (XI (XO (XI (XI (XO (XO (XI (XO (XI (XO (XO (XI (XO (XO (XO (XO
+    (XO (XO (XI (XO (XO (XI XH)))))))))))))))))))))))))))))))) :: ((Npos (XI
+    (XI (XI (XO (XO (XO (XO (XO (XI (XI (XI (XO (XI (XI (XO (XO (XO (XO (XO
+    (XO (XO (XO (XI (XO (XI (XO (XO (XO (XI (XI (XO
+    XH)))))))))))))))))))))))))))))))) :: ((Npos (XO (XO (XI (XI (XI (XI (XI
+    (XO (XI (XO (XO (XI (XI (XO (XI (XI (XO (XO (XI (XI (XI (XO (XO (XI (XI
+    (XI (XI (XO (XI (XO XH))))))))))))))))))))))))))))))) :: ((Npos (XO (XO
+    (XO (XI (XI (XI (XI (XI (XI (XO (XO (XO (XI (XO (XI (XO (XO (XI (XO (XO
+    (XO (XO (XO (XO (XI (XI (XI (XO (XO (XI
+    XH))))))))))))))))))))))))))))))) :: ((Npos (XI (XO (XI (XI (XO (XO (XI
+    (XI (XI (XI (XO (XI (XO (XO (XI (XO (XI (XI (XO (XO (XO (XI (XI (XO (XO
+    (XO (XI (XO (XI (XO XH))))))))))))))))))))))))))))))) :: ((Npos (XI (XI
+    (XO (XI (XI (XO (XO (XO (XO (XI (XO (XO (XO (XI (XO (XI (XO (XO (XI (XI
+    (XI (XI (XI (XI (XO XH)))))))))))))))))))))))))) :: ((Npos (XI (XI (XI
+    (XI (XO (XI (XI (XI (XI (XI (XI (XO (XI (XO (XO (XO (XO (XO (XI (XO (XO
+    (XO (XI (XI (XO (XI (XO (XI (XI (XI (XO
+    XH)))))))))))))))))))))))))))))))) :: ((Npos (XI (XI (XO (XI (XO (XO (XI
+    (XI (XO (XO (XO (XO (XI (XO (XO (XO (XO (XI (XI (XO (XI (XO (XI (XI (XO
+    (XI (XO (XO (XI (XI (XI XH)))))))))))))))))))))))))))))))) :: ((Npos (XI
+    (XI (XO (XO (XO (XO (XI (XO (XI (XO (XO (XO (XI (XO (XO (XI (XI (XI (XI
+    (XI (XO (XO (XO (XI (XI (XO (XO (XO (XO (XI (XO
+    XH)))))))))))))))))))))))))))))))) :: ((Npos (XO (XI (XI (XI (XI (XI (XI
+    (XO (XI (XI (XI (XI (XI (XI (XI (XI (XI (XI (XI (XI (XO (XI (XI (XI (XO
+    (XO (XO (XO (XO (XI (XO XH)))))))))))))))))))))))))))))))) :: ((Npos (XI
+    (XI (XI (XI (XI (XO (XI (XI (XI (XI (XI (XO (XO (XI (XI (XO (XO (XI (XI
+    (XI (XI (XI (XI (XO (XO (XI (XO (XO (XI (XO (XO
+    XH)))))))))))))))))))))))))))))))) :: ((Npos (XO (XI (XO (XO (XI (XO (XO
+    (XO (XI (XI (XO (XI (XI (XO (XI (XI (XO (XO (XI (XI (XI (XI (XO (XI (XI
+    (XI (XO (XI (XI (XO (XO XH)))))))))))))))))))))))))))))))) :: ((Npos (XI
+    (XI (XO (XI (XO (XO (XI (XO (XO (XO (XI (XO (XI (XO (XI (XO (XO (XO (XO
+    (XO (XI (XO (XO (XO (XI (XO (XO (XO (XO (XI (XI
+    XH)))))))))))))))))))))))))))))))) :: ((Npos (XO (XO (XI (XI (XO (XO (XI
+    (XO (XI (XI (XO (XI (XO (XI (XO (XI (XO (XI (XI (XI (XO (XI (XO (XO (XI
+    (XI (XO (XO (XI (XO (XO XH)))))))))))))))))))))))))))))))) :: ((Npos (XI
+    (XO (XO (XO (XO (XI (XO (XI (XI (XO (XI (XI (XO (XI (XO (XI (XO (XO (XO
+    (XI (XI (XO (XO (XI (XO (XO (XO (XI (XI (XO (XO
+    XH)))))))))))))))))))))))))))))))) :: ((Npos (XI (XO (XO (XO (XI (XO (XO
+    (XO (XI (XI (XI (XI (XI (XI (XO (XI (XO (XO (XO (XO (XI (XO (XO (XO (XO
+    (XO (XI (XO (XI (XI (XO XH)))))))))))))))))))))))))))))))) :: ((Npos (XI
+    (XI (XI (XI (XI (XI (XI (XI (XO (XO (XI (XI (XO (XO (XI (XI (XO (XO (XI
+    (XO (XI (XO (XI (XI (XO (XO (XI (XO (XO (XI
+    XH))))))))))))))))))))))))))))))) :: ((Npos (XO (XO (XO (XI (XI (XO (XI
+    (XO (XI (XI (XI (XO (XO (XO (XO (XO (XO (XI (XO (XO (XO (XO (XO (XI (XI
+    (XI (XO (XI (XI (XI (XI XH)))))))))))))))))))))))))))))))) :: ((Npos (XO
+    (XO (XO (XI (XO (XI (XI (XO (XI (XO (XI (XO (XI (XO (XI (XI (XI (XI (XI
+    (XO (XI (XO (XO (XI (XO (XO (XI (XO (XO (XI
+    XH))))))))))))))))))))))))))))))) :: ((Npos (XO (XI (XI (XO (XI (XO (XI
+    (XO (XO (XO (XO (XO (XO (XO (XI (XO (XO (XO (XI (XI (XO (XI (XO (XI (XO
+    (XO (XI (XI (XI XH)))))))))))))))))))))))))))))) :: ((Npos (XI (XO (XO
+    (XO (XI (XO (XI (XI (XI (XI (XO (XO (XI (XO (XI (XI (XI (XI (XO (XI (XO
+    (XO (XO (XI (XI (XO (XO (XI (XO (XO (XO
+    XH)))))))))))))))))))))))))))))))) :: ((Npos (XO (XO (XI (XO (XO (XI (XO
+    (XO (XI (XI (XI (XO (XI (XO (XO (XO (XO (XI (XO (XI (XI (XI (XI (XI (XI
+    (XO (XI (XO XH))))))))))))))))))))))))))))) :: ((Npos (XO (XO (XI (XO (XO
+    (XI (XO (XI (XI (XO (XO (XI (XI (XI (XI (XO (XI (XO (XI (XI (XO (XI (XO
+    (XI (XI (XI (XO (XO (XO (XO (XI
+    XH)))))))))))))))))))))))))))))))) :: ((Npos (XI (XO (XI (XI (XI (XO (XI
+    (XI (XI (XI (XO (XI (XO (XO (XI (XO (XI (XO (XI (XO (XI (XI (XO (XI (XO
+    (XO (XI XH)))))))))))))))))))))))))))) :: ((Npos (XI (XO (XO (XO (XI (XI
+    (XI (XO (XO (XO (XO (XI (XO (XO (XO (XI (XI (XI (XI (XO (XO (XI (XI (XO
+    (XI (XI (XI (XO (XI (XI (XI XH)))))))))))))))))))))))))))))))) :: ((Npos
+    (XO (XO (XO (XI (XO (XI (XO (XI (XO (XI (XI (XI (XI (XI (XO (XO (XI (XI
+    (XO (XI (XI (XI (XO (XO (XI (XO (XI (XI (XO (XO (XI
+    XH)))))))))))))))))))))))))))))))) :: ((Npos (XO (XO (XI (XO (XI (XO (XI
+    (XI (XI (XO (XO (XO (XI (XO (XO (XO (XO (XO (XI (XO (XO (XI (XO (XI (XI
+    (XO (XO (XI (XO (XI (XO XH)))))))))))))))))))))))))))))))) :: ((Npos (XO
+    (XO (XI (XI (XI (XI (XO (XI (XI (XI (XO (XO (XI (XI (XO (XO (XI (XO (XO
+    (XI (XO (XO (XI (XI (XO (XO (XI (XO (XI (XI (XI
+    XH)))))))))))))))))))))))))))))))) :: ((Npos (XI (XI (XO (XO (XI (XO (XO
+    (XI (XI (XO (XI (XI (XI (XI (XO (XO (XO (XO (XO (XI (XO (XI (XO (XI (XO
+    (XI (XI (XI (XI (XI (XI XH)))))))))))))))))))))))))))))))) :: ((Npos (XO
+    (XO (XI (XO (XI (XO (XO (XI (XO (XI (XI (XI (XO (XI (XI (XO (XO (XO (XO
+    (XI (XI (XO (XO (XO (XI (XI (XO (XO (XO (XO (XO
+    XH)))))))))))))))))))))))))))))))) :: ((Npos (XI (XO (XO (XO (XO (XI (XI
+    (XO (XO (XI (XI (XO (XI (XO (XO (XI (XI (XI (XO (XI (XO (XI (XO (XO (XI
+    (XO (XI (XI (XI (XO (XI XH)))))))))))))))))))))))))))))))) :: ((Npos (XI
+    (XI (XO (XI (XO (XI (XO (XO (XI (XO (XI (XI (XI (XI (XO (XO (XO (XO (XO
+    (XI (XO (XI (XO (XI (XI (XO (XI (XI
+    XH))))))))))))))))))))))))))))) :: ((Npos (XO (XO (XI (XO (XO (XI (XI (XO
+    (XI (XO (XI (XI (XI (XO (XI (XI (XO (XI (XI (XI (XI (XI (XI (XI (XO (XO
+    (XO (XO XH))))))))))))))))))))))))))))) :: ((Npos (XI (XO (XO (XI (XO (XO
+    (XO (XI (XO (XI (XI (XI (XI (XO (XO (XI (XI (XO (XO (XI (XI (XO (XO (XI
+    (XI (XO (XI (XI (XO XH)))))))))))))))))))))))))))))) :: ((Npos (XI (XO
+    (XI (XI (XO (XO (XI (XI (XI (XI (XO (XI (XO (XI (XI (XO (XO (XO (XI (XI
+    (XI (XO (XO (XI (XO (XI (XI (XO (XI
+    XH)))))))))))))))))))))))))))))) :: ((Npos (XI (XI (XI (XO (XI (XI (XI
+    (XO (XO (XI (XO (XI (XO (XI (XI (XI (XI (XI (XI (XI (XO (XO (XI (XI (XO
+    (XI (XO (XI (XO (XO (XI XH)))))))))))))))))))))))))))))))) :: ((Npos (XI
+    (XO (XI (XI (XO (XI (XI (XI (XO (XO (XI (XI (XO (XO (XI (XO (XO (XO (XO
+    (XI (XO (XO (XO (XO (XI (XO (XI (XO (XO (XI (XO
+    XH)))))))))))))))))))))))))))))))) :: ((Npos (XI (XO (XO (XI (XO (XO (XI
+    (XO (XI (XI (XI (XO (XI (XO (XO (XI (XO (XO (XO (XO (XI (XI (XO (XI (XO
+    (XI (XI (XO (XO (XI XH))))))))))))))))))))))))))))))) :: ((Npos (XO (XI
+    (XO (XO (XO (XO (XO (XO (XI (XI (XO (XO (XI (XO (XI (XO (XO (XO (XO (XI
+    (XI (XO (XI (XI (XI (XO (XO (XI (XO (XO (XI
+    XH)))))))))))))))))))))))))))))))) :: ((Npos (XI (XO (XI (XI (XI (XI (XO
+    (XI (XI (XO (XO (XO (XI (XO (XO (XO (XI (XO (XI (XO (XI (XO (XO (XO (XI
+    (XO (XI (XI XH))))))))))))))))))))))))))))) :: ((Npos (XI (XI (XI (XI (XI
+    (XI (XO (XI (XI (XI (XI (XO (XO (XO (XO (XO (XI (XI (XO (XI (XI (XI (XO
+    (XI (XO (XO (XI (XO (XI (XO (XI
+    XH)))))))))))))))))))))))))))))))) :: ((Npos (XO (XO (XI (XO (XO (XO (XI
+    (XI (XI (XO (XI (XO (XO (XI (XI (XO (XO (XI (XI (XI (XI (XO (XO (XO (XO
+    (XO (XI (XI (XO (XO (XI XH)))))))))))))))))))))))))))))))) :: ((Npos (XI
+    (XO (XI (XO (XI (XO (XI (XI (XO (XI (XI (XO (XI (XO (XO (XO (XI (XI (XO
+    (XI (XI (XI (XI (XI (XO (XO (XI XH)))))))))))))))))))))))))))) :: ((Npos
+    (XI (XI (XI (XO (XI (XO (XO (XO (XI (XI (XI (XO (XO (XO (XO (XO (XO (XO
+    (XI (XI (XI (XI (XI (XO (XO (XO (XI (XI (XO (XO (XO
+    XH)))))))))))))))))))))))))))))))) :: ((Npos (XO (XI (XI (XO (XO (XI (XI
+    (XO (XO (XI (XO (XO (XO (XI (XO (XO (XO (XO (XI (XI (XI (XO (XI (XI (XI
+    (XO (XO (XO (XO (XO (XI XH)))))))))))))))))))))))))))))))) :: ((Npos (XO
+    (XI (XI (XO (XI (XI (XI (XI (XO (XI (XO (XO (XI (XI (XO (XO (XO (XI (XI
+    (XO (XO (XI (XO (XI (XO (XO (XO XH)))))))))))))))))))))))))))) :: ((Npos
+    (XO (XI (XO (XI (XO (XO (XI (XO (XO (XI (XO (XO (XO (XI (XO (XI (XI (XO
+    (XI (XI (XI (XI (XI (XO (XO (XO (XO (XO (XO (XI (XO
+    XH)))))))))))))))))))))))))))))))) :: ((Npos (XI (XI (XI (XI (XI (XI (XI
+    (XI (XI (XI (XI (XO (XI (XI (XI (XO (XO (XO (XO (XO (XI (XO (XI (XO (XO
+    (XI (XO (XO (XI (XO (XO XH)))))))))))))))))))))))))))))))) :: ((Npos (XO
+    (XI (XO (XI (XO (XI (XI (XI (XI (XO (XO (XO (XI (XI (XO (XI (XO (XO (XI
+    (XO (XI (XI (XI (XO (XI (XO (XI (XI (XO (XO
+    XH))))))))))))))))))))))))))))))) :: ((Npos (XI (XI (XI (XI (XI (XO (XI
+    (XI (XO (XI (XI (XO (XO (XI (XI (XI (XI (XO (XI (XO (XI (XO (XO (XI (XI
+    (XO (XI (XO (XI (XI (XI XH)))))))))))))))))))))))))))))))) :: ((Npos (XO
+    (XI (XI (XO (XO (XI (XI (XO (XO (XO (XO (XI (XI (XO (XI (XO (XO (XI (XO
+    (XO (XO (XO (XO (XI (XO (XO (XI (XI (XI (XI
+    XH))))))))))))))))))))))))))))))) :: ((Npos (XI (XO (XO (XI (XO (XO (XI
+    (XI (XI (XO (XI (XO (XI (XO (XI (XI (XI (XO (XO (XO (XI (XO (XO (XI (XI
+    (XI (XI (XO (XI XH)))))))))))))))))))))))))))))) :: ((Npos (XI (XI (XO
+    (XO (XI (XI (XO (XO (XO (XO (XO (XI (XI (XI (XI (XO (XO (XO (XI (XI (XI
+    (XI (XI (XI (XI (XO (XI (XO (XI (XO
+    XH))))))))))))))))))))))))))))))) :: ((Npos (XO (XI (XI (XI (XI (XO (XI
+    (XI (XO (XI (XO (XO (XI (XO (XI (XO (XI (XI (XI (XO (XO (XO (XI (XI (XO
+    (XO (XO (XI (XI XH)))))))))))))))))))))))))))))) :: ((Npos (XO (XI (XI
+    (XI (XI (XI (XO (XI (XO (XO (XO (XO (XI (XI (XI (XI (XI (XO (XO (XI (XO
+    (XI (XO (XO (XI (XO (XO (XO (XI (XO (XI
+    XH)))))))))))))))))))))))))))))))) :: ((Npos (XO (XI (XI (XI (XI (XO (XI
+    (XI (XI (XI (XI (XI (XI (XI (XI (XO (XI (XI (XI (XO (XO (XI (XI (XI (XO
+    (XO (XI (XI (XO XH)))))))))))))))))))))))))))))) :: ((Npos (XO (XI (XI
+    (XI (XO (XO (XO (XO (XO (XI (XI (XI (XO (XI (XI (XO (XI (XO (XI (XI (XO
+    (XI (XI (XI (XO (XI (XO (XO (XI
+    XH)))))))))))))))))))))))))))))) :: ((Npos (XO (XO (XI (XO (XI (XI (XO
+    (XI (XI (XO (XO (XO (XO (XI (XI (XO (XO (XO (XO (XI (XI (XI (XI (XO (XO
+    (XO (XI (XO (XI (XI XH))))))))))))))))))))))))))))))) :: ((Npos (XO (XI
+    (XO (XI (XO (XO (XO (XI (XI (XO (XI (XO (XI (XI (XI (XI (XO (XI (XI (XO
+    (XI (XI (XI (XO (XI (XO (XO (XO (XO (XI (XO
+    XH)))))))))))))))))))))))))))))))) :: ((Npos (XO (XI (XI (XI (XI (XO (XO
+    (XO (XO (XO (XI (XI (XO (XO (XO (XI (XO (XO (XO (XO (XO (XO (XI (XO (XI
+    (XO (XO (XO (XI (XI (XI XH)))))))))))))))))))))))))))))))) :: ((Npos (XO
+    (XO (XI (XI (XO (XI (XO (XO (XI (XI (XO (XI (XO (XI (XI (XI (XO (XI (XO
+    (XI (XI (XI (XO (XI (XI (XO (XI (XO (XI (XI (XO
+    XH)))))))))))))))))))))))))))))))) :: ((Npos (XI (XO (XO (XO (XI (XO (XO
+    (XI (XO (XI (XI (XI (XI (XO (XO (XO (XO (XO (XI (XO (XO (XI (XI (XO (XI
+    (XI (XO (XO (XO (XI XH))))))))))))))))))))))))))))))) :: ((Npos (XI (XO
+    (XO (XI (XO (XI (XI (XO (XI (XO (XI (XI (XI (XO (XI (XI (XI (XO (XI (XI
+    (XI (XI (XI (XI (XI (XI (XI (XI (XO
+    XH)))))))))))))))))))))))))))))) :: ((Npos (XO (XO (XO (XO (XO (XI (XI
+    (XO (XI (XO (XO (XO (XI (XI (XI (XI (XO (XO (XI (XO (XI (XI (XI (XO (XO
+    (XI (XI (XO (XO (XO XH))))))))))))))))))))))))))))))) :: ((Npos (XO (XO
+    (XI (XI (XI (XO (XO (XO (XO (XI (XO (XO (XI (XO (XO (XO (XI (XI (XI (XI
+    (XI (XI (XO (XO (XO (XI (XI (XI (XI (XI (XI
+    XH)))))))))))))))))))))))))))))))) :: ((Npos (XI (XI (XI (XO (XI (XO (XO
+    (XO (XI (XI (XI (XI (XI (XI (XO (XO (XO (XO (XI (XI (XI (XI (XO (XO (XI
+    (XI (XO (XI (XI (XI (XI XH)))))))))))))))))))))))))))))))) :: ((Npos (XI
+    (XI (XI (XI (XI (XO (XO (XO (XI (XO (XI (XO (XI (XO (XO (XI (XO (XI (XI
+    (XO (XO (XI (XO (XO (XI (XO (XO (XI (XO (XO (XI
+    XH)))))))))))))))))))))))))))))))) :: ((Npos (XO (XI (XO (XI (XI (XI (XI
+    (XI (XI (XI (XI (XO (XO (XI (XO (XI (XI (XI (XO (XO (XO (XO (XI (XO (XO
+    (XI (XI (XO XH))))))))))))))))))))))))))))) :: ((Npos (XO (XI (XO (XO (XI
+    (XO (XO (XO (XI (XI (XI (XO (XO (XO (XI (XI (XO (XO (XO (XI (XO (XO (XI
+    (XO (XO (XI (XO (XO (XI (XO (XO
+    XH)))))))))))))))))))))))))))))))) :: ((Npos (XI (XO (XI (XI (XI (XI (XI
+    (XI (XO (XI (XI (XI (XO (XI (XO (XI (XO (XI (XO (XI (XI (XO (XI (XO (XI
+    (XO (XI (XI (XO (XO (XO XH)))))))))))))))))))))))))))))))) :: ((Npos (XI
+    (XO (XO (XO (XO (XI (XO (XI (XO (XO (XI (XI (XO (XI (XO (XO (XI (XI (XI
+    (XI (XI (XO (XO (XI (XI (XO (XO (XI (XI (XO (XI
+    XH)))))))))))))))))))))))))))))))) :: ((Npos (XI (XO (XO (XI (XO (XO (XO
+    (XO (XI (XI (XO (XI (XO (XI (XO (XO (XO (XO (XO (XI (XO (XI (XO (XO (XO
+    (XO (XI (XI (XI (XO (XO XH)))))))))))))))))))))))))))))))) :: ((Npos (XO
+    (XI (XI (XI (XO (XI (XI (XI (XO (XO (XI (XI (XI (XO (XO (XI (XO (XO (XI
+    (XO (XI (XI (XI (XO (XO (XI (XO (XO (XO (XI
+    XH))))))))))))))))))))))))))))))) :: ((Npos (XI (XO (XI (XI (XO (XI (XO
+    (XO (XI (XO (XI (XO (XO (XO (XI (XI (XO (XI (XO (XI (XI (XO (XO (XI (XO
+    (XO (XI (XI (XI (XO XH))))))))))))))))))))))))))))))) :: ((Npos (XO (XI
+    (XO (XI (XO (XI (XO (XI (XI (XO (XO (XO (XI (XI (XI (XO (XI (XO (XO (XI
+    (XO (XI (XO (XO (XI (XO (XO (XI (XO (XO
+    XH))))))))))))))))))))))))))))))) :: ((Npos (XO (XO (XO (XI (XI (XO (XO
+    (XI (XO (XO (XO (XI (XI (XI (XI (XO (XO (XO (XI (XO (XI (XI (XI (XI (XI
+    (XO (XO (XI (XO XH)))))))))))))))))))))))))))))) :: ((Npos (XI (XI (XO
+    (XO (XI (XI (XI (XO (XI (XO (XI (XO (XO (XO (XI (XI (XO (XI (XI (XO (XI
+    (XO (XI (XO (XO (XO (XI (XI (XI (XO (XI
+    XH)))))))))))))))))))))))))))))))) :: ((Npos (XI (XI (XO (XO (XI (XO (XI
+    (XI (XO (XO (XI (XI (XO (XI (XO (XO (XO (XO (XI (XO (XO (XI (XO (XO (XO
+    (XO (XO (XI (XI (XO (XO XH)))))))))))))))))))))))))))))))) :: ((Npos (XI
+    (XO (XI (XO (XO (XO (XI (XI (XO (XI (XI (XO (XI (XO (XI (XI (XO (XO (XI
+    (XI (XI (XO (XO (XO (XI (XO (XI (XI (XI (XO (XO
+    XH)))))))))))))))))))))))))))))))) :: ((Npos (XO (XO (XI (XO (XI (XI (XI
+    (XO (XI (XI (XO (XI (XI (XO (XO (XI (XO (XI (XO (XI (XI (XO (XI (XO (XI
+    (XO (XI (XO (XI XH)))))))))))))))))))))))))))))) :: ((Npos (XO (XO (XI
+    (XO (XO (XI (XI (XO (XI (XI (XO (XO (XI (XO (XO (XI (XI (XI (XI (XO (XI
+    (XI (XI (XI (XI (XI (XO (XO (XO (XO (XI
+    XH)))))))))))))))))))))))))))))))) :: ((Npos (XO (XI (XI (XI (XI (XI (XO
+    (XO (XI (XO (XI (XO (XI (XO (XO (XI (XO (XI (XI (XO (XI (XI (XO (XI (XO
+    (XO (XO (XI (XI (XI (XO XH)))))))))))))))))))))))))))))))) :: ((Npos (XO
+    (XI (XI (XO (XI (XI (XO (XO (XI (XI (XI (XO (XO (XI (XI (XO (XI (XI (XO
+    (XO (XO (XO (XO (XO (XI (XI (XO (XI (XI
+    XH)))))))))))))))))))))))))))))) :: ((Npos (XO (XI (XO (XI (XO (XI (XI
+    (XO (XO (XO (XI (XO (XI (XI (XO (XO (XI (XI (XO (XO (XI (XO (XI (XO (XI
+    (XO (XO (XO (XO (XI (XI XH)))))))))))))))))))))))))))))))) :: ((Npos (XI
+    (XI (XO (XO (XI (XO (XO (XO (XO (XI (XI (XO (XO (XO (XO (XI (XI (XI (XO
+    (XI (XO (XO (XO (XI (XO (XO (XO (XI (XO (XO (XO
+    XH)))))))))))))))))))))))))))))))) :: ((Npos (XO (XO (XI (XO (XI (XO (XO
+    (XI (XI (XO (XI (XI (XI (XI (XO (XI (XO (XO (XI (XI (XI (XI (XI (XO (XO
+    XH)))))))))))))))))))))))))) :: ((Npos (XO (XO (XI (XI (XI (XI (XO (XO
+    (XO (XI (XI (XI (XI (XI (XO (XO (XO (XO (XI (XO (XI (XI (XO (XO (XO (XO
+    (XI (XO (XI (XI XH))))))))))))))))))))))))))))))) :: ((Npos (XI (XO (XI
+    (XI (XI (XI (XI (XI (XI (XO (XI (XO (XI (XI (XI (XO (XO (XI (XO (XO (XO
+    (XI (XO (XO (XO (XO (XO (XI (XO (XO (XO
+    XH)))))))))))))))))))))))))))))))) :: ((Npos (XO (XI (XO (XI (XI (XI (XI
+    (XI (XO (XI (XO (XI (XO (XO (XO (XI (XO (XI (XI (XI (XO (XO (XI (XI (XI
+    (XO (XI (XI (XI XH)))))))))))))))))))))))))))))) :: ((Npos (XI (XI (XO
+    (XO (XO (XI (XI (XO (XO (XI (XI (XI (XO (XI (XI (XI (XI (XO (XI (XO (XO
+    (XO (XO (XO (XI (XO (XI (XO (XO (XI
+    XH))))))))))))))))))))))))))))))) :: ((Npos (XO (XO (XO (XI (XI (XI (XO
+    (XO (XI (XO (XO (XI (XI (XI (XI (XO (XO (XI (XO (XI (XO (XO
+    XH))))))))))))))))))))))) :: ((Npos (XO (XI (XI (XO (XO (XO (XI (XO (XI
+    (XO (XO (XI (XI (XO (XO (XI (XO (XI (XI (XO (XO (XO (XI (XI (XI (XI (XO
+    (XI XH))))))))))))))))))))))))))))) :: ((Npos (XI (XI (XO (XO (XI (XO (XO
+    (XO (XI (XO (XO (XI (XI (XI (XI (XI (XI (XI (XO (XO (XI (XO (XI (XI (XO
+    (XO (XI (XO (XO (XI (XO XH)))))))))))))))))))))))))))))))) :: ((Npos (XO
+    (XI (XI (XO (XI (XO (XO (XO (XI (XO (XI (XO (XO (XI (XO (XO (XI (XI (XI
+    (XI (XO (XO (XI (XI (XI (XO (XI (XO (XO (XO (XI
+    XH)))))))))))))))))))))))))))))))) :: ((Npos (XI (XO (XO (XI (XO (XI (XO
+    (XI (XI (XO (XI (XI (XI (XO (XO (XI (XO (XO (XI (XI (XI (XI (XI (XO (XI
+    (XI (XO (XI (XO (XO XH))))))))))))))))))))))))))))))) :: ((Npos (XO (XI
+    (XO (XI (XO (XI (XO (XO (XO (XO (XI (XO (XO (XO (XO (XO (XO (XO (XO (XO
+    (XO (XI (XO (XI (XI (XO (XO (XI (XO (XI (XI
+    XH)))))))))))))))))))))))))))))))) :: ((Npos (XI (XI (XI (XO (XI (XO (XO
+    (XI (XI (XI (XI (XO (XI (XI (XO (XI (XO (XI (XO (XO (XI (XO (XI (XO (XI
+    (XI (XO (XO (XI (XO (XI XH)))))))))))))))))))))))))))))))) :: ((Npos (XO
+    (XO (XI (XO (XO (XO (XI (XI (XI (XO (XI (XI (XI (XI (XI (XI (XO (XO (XI
+    (XO (XI (XO (XO (XI (XO (XO (XI (XI (XI (XO (XO
+    XH)))))))))))))))))))))))))))))))) :: ((Npos (XO (XI (XO (XI (XO (XO (XI
+    (XI (XI (XO (XO (XI (XO (XO (XI (XO (XI (XI (XO (XO (XI (XI (XO (XO (XI
+    (XI (XI (XI (XI (XO (XI XH)))))))))))))))))))))))))))))))) :: ((Npos (XI
+    (XO (XI (XI (XI (XI (XO (XO (XI (XO (XI (XI (XI (XI (XI (XO (XO (XO (XI
+    (XO (XO (XI (XO (XO (XI (XO (XI (XO (XO (XI
+    XH))))))))))))))))))))))))))))))) :: ((Npos (XI (XO (XO (XO (XO (XI (XO
+    (XO (XI (XI (XO (XO (XO (XO (XO (XI (XI (XO (XO (XO (XO (XO (XI (XI (XI
+    (XO (XO (XO (XO (XO (XI XH)))))))))))))))))))))))))))))))) :: ((Npos (XO
+    (XO (XI (XI (XO (XI (XO (XO (XI (XI (XI (XO (XO (XO (XI (XO (XO (XO (XO
+    (XI (XO (XI (XI (XI (XO (XI (XI (XO (XI (XI (XI
+    XH)))))))))))))))))))))))))))))))) :: ((Npos (XI (XI (XO (XO (XI (XO (XO
+    (XO (XI (XI (XO (XO (XI (XO (XO (XO (XI (XO (XI (XO (XI (XO (XO (XI (XO
+    (XI (XI (XO (XI XH)))))))))))))))))))))))))))))) :: ((Npos (XI (XO (XI
+    (XI (XO (XI (XO (XI (XO (XO (XO (XI (XO (XO (XO (XI (XI (XI (XO (XO (XI
+    (XI (XO (XO (XI (XO (XI (XO (XO (XO (XI
+    XH)))))))))))))))))))))))))))))))) :: ((Npos (XO (XO (XI (XO (XI (XI (XO
+    (XO (XO (XO (XO (XI (XI (XO (XO (XO (XO (XI (XO (XI (XI (XO (XI (XI (XO
+    (XO (XI (XI (XO (XO XH))))))))))))))))))))))))))))))) :: ((Npos (XI (XI
+    (XO (XI (XO (XO (XO (XO (XI (XO (XO (XI (XO (XO (XI (XI (XI (XI (XO (XO
+    (XO (XI (XI (XO (XI (XI (XI (XI (XO (XI (XO
+    XH)))))))))))))))))))))))))))))))) :: ((Npos (XI (XI (XO (XI (XI (XI (XO
+    (XO (XO (XO (XI (XO (XO (XI (XO (XO (XI (XI (XI (XI (XO (XI (XO (XI (XI
+    (XO (XI (XO (XO (XO XH))))))))))))))))))))))))))))))) :: ((Npos (XO (XO
+    (XO (XI (XO (XI (XI (XI (XO (XO (XI (XI (XI (XO (XI (XO (XO (XI (XI (XO
+    (XI (XI (XO (XO (XI (XI (XI (XO (XO (XO (XI
+    XH)))))))))))))))))))))))))))))))) :: ((Npos (XO (XI (XI (XI (XI (XI (XO
+    (XI (XI (XO (XO (XO (XI (XI (XO (XO (XI (XI (XO (XO (XO (XI (XO (XI (XI
+    (XO (XO (XI (XO XH)))))))))))))))))))))))))))))) :: ((Npos (XO (XI (XI
+    (XI (XO (XO (XO (XO (XO (XO (XI (XI (XO (XO (XO (XI (XI (XI (XO (XO (XI
+    (XO (XI (XI (XO (XO (XO (XO (XI (XO
+    XH))))))))))))))))))))))))))))))) :: ((Npos (XI (XO (XI (XO (XO (XI (XI
+    (XI (XO (XI (XO (XO (XO (XO (XI (XI (XO (XI (XO (XI (XO (XI (XO (XO (XI
+    (XI (XI (XI (XO (XO (XO XH)))))))))))))))))))))))))))))))) :: ((Npos (XO
+    (XO (XO (XO (XI (XO (XO (XI (XI (XI (XO (XO (XI (XI (XI (XO (XI (XI (XO
+    (XI (XO (XI (XI (XO (XO (XI XH))))))))))))))))))))))))))) :: ((Npos (XI
+    (XI (XO (XO (XO (XO (XI (XI (XO (XO (XO (XO (XI (XI (XI (XO (XO (XI (XI
+    (XO (XO (XI (XO (XI (XO (XO (XI (XI (XI (XO (XI
+    XH)))))))))))))))))))))))))))))))) :: ((Npos (XI (XI (XO (XO (XI (XO (XO
+    (XI (XI (XI (XO (XI (XI (XO (XI (XI (XO (XO (XO (XO (XO (XI (XI (XI (XI
+    (XO (XI (XO (XI XH)))))))))))))))))))))))))))))) :: ((Npos (XI (XO (XO
+    (XI (XO (XO (XO (XI (XO (XI (XO (XI (XO (XI (XI (XO (XO (XI (XO (XI (XI
+    (XO (XI (XO (XI (XO (XO (XI (XI (XO (XI
+    XH)))))))))))))))))))))))))))))))) :: ((Npos (XO (XI (XO (XO (XO (XO (XO
+    (XI (XI (XO (XI (XI (XO (XI (XI (XI (XO (XO (XI (XI (XI (XO (XI (XO (XO
+    (XI (XO (XO (XI XH)))))))))))))))))))))))))))))) :: ((Npos (XI (XI (XI
+    (XO (XO (XI (XO (XI (XO (XO (XO (XO (XO (XO (XI (XI (XO (XO (XI (XO (XO
+    (XI (XI (XI (XI (XI (XO (XO (XI (XI
+    XH))))))))))))))))))))))))))))))) :: ((Npos (XO (XO (XI (XI (XI (XI (XO
+    (XO (XI (XI (XO (XI (XI (XO (XI (XO (XO (XI (XI (XI (XO (XO (XI (XO (XO
+    (XI (XI (XO (XO (XI (XI XH)))))))))))))))))))))))))))))))) :: ((Npos (XI
+    (XI (XI (XO (XO (XO (XI (XO (XI (XO (XO (XO (XI (XI (XO (XO (XO (XO (XI
+    (XO (XO (XI (XO (XI (XI (XI (XI (XI (XO (XI (XO
+    XH)))))))))))))))))))))))))))))))) :: ((Npos (XI (XO (XI (XI (XI (XI (XI
+    (XI (XO (XI (XO (XI (XO (XI (XI (XI (XO (XO (XO (XO (XI (XO (XO (XI (XI
+    (XO (XI (XO (XI (XI XH))))))))))))))))))))))))))))))) :: ((Npos (XI (XO
+    (XI (XO (XI (XI (XO (XI (XO (XI (XI (XO (XI (XO (XO (XI (XO (XI (XI (XI
+    (XI (XI (XO (XI (XI (XO (XI (XO (XO (XI
+    XH))))))))))))))))))))))))))))))) :: ((Npos (XI (XI (XO (XI (XI (XO (XO
+    (XO (XI (XO (XO (XO (XO (XO (XO (XI (XO (XO (XO (XI (XO (XO (XI (XI
+    XH))))))))))))))))))))))))) :: ((Npos (XO (XO (XO (XI (XO (XO (XO (XI (XI
+    (XO (XI (XO (XO (XI (XO (XO (XO (XI (XO (XI (XI (XI (XI (XO (XO (XO (XO
+    (XO (XI (XO (XI
+    XH)))))))))))))))))))))))))))))))) :: [])))))))))))))))))))))))))))))))))))))))))))))))))))))))))))))))))))))))))))))))))))))))))))))))))))))))))))))))))))))))))))))))))))))))))))))))))))))))))))))))))))))))))))))))))))))))))))))))))))))))))))))))))))))))))))))))))))))))))))))))))))))))))))))))
+
+(** val rFC_V3 : n list **)
+
+let rFC_V3 =
+  (Npos (XO (XO (XO (XI (XI (XO (XI (XO (XO (XO (XI (XI (XI (XO (XI (XI (XO
+    (XI (XO (XO (XO (XO (XO (XO (XI (XI (XI (XO (XO (XO
+    XH))))))))))))))))))))))))))))))) :: ((Npos (XI (XI (XO (XI (XI (XO (XO
+    (XI (XO (XO (XO (XO (XI (XO (XI (XO (XO (XI (XI (XO (XO (XI (XI (XO (XO
+    (XO (XI (XI (XO XH)))))))))))))))))))))))))))))) :: ((Npos (XI (XI (XO
+    (XI (XO (XO (XI (XO (XI (XO (XO (XI (XI (XO (XI (XI (XI (XO (XO (XO (XO
+    (XI (XI (XO (XI (XI (XI (XO (XI (XO (XO
+    XH)))))))))))))))))))))))))))))))) :: ((Npos (XI (XO (XI (XO (XO (XI (XI
+    (XO (XI (XI (XO (XI (XO (XI (XI (XO (XI (XO (XI (XO (XO (XO (XO (XI (XI
+    (XI (XI (XI (XI (XI (XO XH)))))))))))))))))))))))))))))))) :: ((Npos (XO
+    (XI (XO (XO (XI (XO (XI (XI (XO (XO (XO (XO (XI (XO (XI (XO (XI (XO (XI
+    (XI (XI (XO (XI (XI (XI (XI (XO (XO (XO (XO (XI
+    XH)))))))))))))))))))))))))))))))) :: ((Npos (XI (XO (XI (XI (XI (XO (XO
+    (XO (XI (XI (XO (XO (XO (XO (XI (XO (XI (XI (XI (XI (XO (XO (XO (XI (XI
+    (XI (XI (XO (XO (XO XH))))))))))))))))))))))))))))))) :: ((Npos (XO (XO
+    (XI (XI (XO (XI (XI (XO (XO (XO (XO (XO (XI (XI (XO (XI (XO (XI (XO (XO
+    (XI (XO (XI (XI (XO (XI (XO (XO (XI (XO (XO
+    XH)))))))))))))))))))))))))))))))) :: ((Npos (XO (XI (XI (XI (XI (XI (XO
+    (XI (XO (XO (XO (XO (XI (XI (XO (XI (XO (XI (XI (XI (XI (XI (XI (XI (XO
+    (XO (XI (XI (XO XH)))))))))))))))))))))))))))))) :: ((Npos (XO (XI (XI
+    (XO (XO (XO (XO (XI (XO (XI (XI (XO (XI (XI (XO (XI (XO (XO (XO (XI (XI
+    (XO (XO (XI (XO (XI (XO (XI (XO
+    XH)))))))))))))))))))))))))))))) :: ((Npos (XO (XO (XI (XI (XO (XI (XO
+    (XO (XI (XI (XO (XI (XO (XI (XO (XI (XO (XO (XO (XO (XI (XO (XI (XO (XI
+    (XO (XI (XO (XI (XI XH))))))))))))))))))))))))))))))) :: ((Npos (XI (XI
+    (XI (XI (XO (XI (XI (XO (XI (XI (XO (XI (XI (XI (XI (XO (XO (XI (XI (XO
+    (XO (XO (XI (XO (XO (XO (XO (XI (XI (XO (XI
+    XH)))))))))))))))))))))))))))))))) :: ((Npos (XO (XO (XO (XI (XI (XO (XI
+    (XO (XO (XO (XO (XI (XO (XO (XO (XO (XI (XI (XI (XO (XO (XI (XO (XO (XO
+    (XO (XI (XI (XO (XO XH))))))))))))))))))))))))))))))) :: ((Npos (XO (XI
+    (XI (XO (XI (XO (XO (XI (XI (XO (XI (XO (XI (XI (XI (XO (XI (XI (XO (XO
+    (XO (XO (XO (XO (XI (XO (XO (XI (XI (XO
+    XH))))))))))))))))))))))))))))))) :: ((Npos (XI (XO (XI (XI (XI (XO (XI
+    (XI (XO (XI (XI (XI (XI (XO (XO (XI (XO (XI (XI (XO (XI (XI (XO (XI (XI
+    (XO (XI (XO XH))))))))))))))))))))))))))))) :: ((Npos (XO (XO (XO (XI (XO
+    (XI (XI (XO (XO (XO (XO (XO (XO (XO (XI (XO (XO (XO (XI (XO (XO (XO (XO
+    (XI (XO (XI (XO (XI (XI (XI XH))))))))))))))))))))))))))))))) :: ((Npos
+    (XO (XO (XO (XI (XI (XI (XO (XI (XO (XO (XO (XI (XO (XO (XI (XI (XO (XI
+    (XO (XO (XO (XO (XI (XO (XI (XO (XO (XI (XO (XI (XI
+    XH)))))))))))))))))))))))))))))))) :: ((Npos (XI (XO (XO (XI (XO (XO (XO
+    (XO (XO (XI (XI (XO (XI (XI (XO (XO (XO (XO (XO (XI (XO (XI (XO (XI (XO
+    (XI (XI (XI (XO (XI (XO XH)))))))))))))))))))))))))))))))) :: ((Npos (XI
+    (XI (XI (XO (XI (XI (XI (XO (XO (XO (XO (XO (XO (XI (XO (XO (XI (XI (XO
+    (XI (XO (XO (XI (XI (XI (XO (XI (XO (XI
+    XH)))))))))))))))))))))))))))))) :: ((Npos (XI (XI (XO (XO (XI (XI (XI
+    (XO (XO (XI (XO (XO (XO (XI (XI (XO (XO (XO (XI (XO (XI (XI (XI (XO (XO
+    (XO (XI (XI (XO (XI (XI XH)))))))))))))))))))))))))))))))) :: ((Npos (XI
+    (XI (XO (XI (XO (XO (XI (XI (XO (XO (XO (XO (XI (XI (XO (XI (XI (XI (XO
+    (XO (XI (XO (XO (XI (XO (XI (XO (XI (XI (XI
+    XH))))))))))))))))))))))))))))))) :: ((Npos (XO (XI (XI (XO (XO (XI (XO
+    (XO (XO (XI (XO (XI (XI (XO (XO (XO (XI (XO (XO (XO (XO (XO (XI (XO (XI
+    (XO (XO (XI (XO XH)))))))))))))))))))))))))))))) :: ((Npos (XI (XO (XO
+    (XO (XO (XI (XI (XI (XO (XO (XO (XI (XO (XO (XO (XO (XO (XO (XI (XI (XI
+    (XO (XO (XO (XI (XI (XO XH)))))))))))))))))))))))))))) :: ((Npos (XO (XI
+    (XO (XO (XI (XO (XO (XI (XO (XO (XI (XI (XO (XO (XO (XO (XO (XO (XI (XO
+    (XO (XI (XO (XI (XI (XO (XO (XO (XI
+    XH)))))))))))))))))))))))))))))) :: ((Npos (XO (XO (XO (XI (XO (XI (XI
+    (XO (XI (XO (XO (XO (XI (XI (XI (XO (XI (XI (XI (XI (XI (XI (XO (XO (XI
+    (XI (XO (XO (XI XH)))))))))))))))))))))))))))))) :: ((Npos (XO (XI (XI
+    (XI (XI (XO (XO (XO (XI (XI (XI (XI (XI (XO (XI (XI (XO (XI (XO (XI (XI
+    (XI (XI (XO (XO (XO (XI (XI (XO (XO
+    XH))))))))))))))))))))))))))))))) :: ((Npos (XO (XO (XI (XO (XO (XI (XI
+    (XI (XO (XI (XO (XI (XI (XO (XI (XI (XO (XO (XI (XI (XO (XO (XI (XO (XO
+    (XI (XI (XO (XO (XO (XO XH)))))))))))))))))))))))))))))))) :: ((Npos (XI
+    (XO (XI (XO (XO (XO (XO (XO (XI (XO (XI (XO (XO (XI (XI (XO (XI (XO (XI
+    (XO (XO (XO (XO (XO (XI (XI (XO (XO (XI (XI (XO
+    XH)))))))))))))))))))))))))))))))) :: ((Npos (XO (XO (XO (XO (XO (XI (XO
+    (XI (XI (XI (XI (XI (XO (XI (XI (XO (XI (XI (XI (XO (XO (XI (XO (XI (XO
+    (XO (XO (XI (XO (XI XH))))))))))))))))))))))))))))))) :: ((Npos (XO (XI
+    (XI (XO (XO (XO (XI (XI (XO (XO (XI (XI (XI (XI (XO (XO (XI (XO (XO (XI
+    (XI (XI (XI (XO (XI (XO (XI (XO (XO (XO (XO
+    XH)))))))))))))))))))))))))))))))) :: ((Npos (XO (XO (XO (XO (XO (XI (XI
+    (XI (XI (XO (XI (XO (XO (XI (XO (XO (XI (XI (XO (XO (XI (XO (XO (XI (XO
+    (XI (XI (XI (XI (XI (XI XH)))))))))))))))))))))))))))))))) :: ((Npos (XI
+    (XO (XI (XO (XI (XO (XI (XO (XO (XO (XI (XO (XO (XI (XO (XO (XO (XI (XO
+    (XI (XI (XI (XO (XO (XO (XI (XO (XO (XO (XO (XO
+    XH)))))))))))))))))))))))))))))))) :: ((Npos (XO (XO (XI (XI (XI (XI (XO
+    (XO (XI (XO (XI (XI (XI (XI (XI (XO (XI (XO (XO (XI (XI (XO (XI (XI (XI
+    (XO (XI (XI (XO XH)))))))))))))))))))))))))))))) :: ((Npos (XO (XI (XO
+    (XO (XO (XI (XO (XI (XI (XI (XI (XI (XI (XI (XO (XI (XI (XO (XI (XO (XI
+    (XI (XI (XO (XO (XI (XO (XI (XO (XO
+    XH))))))))))))))))))))))))))))))) :: ((Npos (XI (XO (XI (XO (XI (XO (XI
+    (XI (XI (XI (XI (XO (XI (XO (XI (XI (XI (XI (XI (XI (XI (XO (XO (XO (XI
+    (XI (XI (XO (XO (XO XH))))))))))))))))))))))))))))))) :: ((Npos (XO (XI
+    (XI (XO (XI (XO (XO (XI (XO (XO (XO (XO (XI (XO (XI (XI (XI (XO (XI (XI
+    (XO (XO (XO (XI (XO (XI (XI (XI (XI (XO (XO
+    XH)))))))))))))))))))))))))))))))) :: ((Npos (XI (XO (XI (XI (XI (XO (XO
+    (XO (XI (XI (XI (XO (XI (XO (XO (XO (XI (XI (XO (XO (XI (XO (XI (XO (XO
+    (XI (XI (XO (XO XH)))))))))))))))))))))))))))))) :: ((Npos (XO (XI (XO
+    (XI (XI (XI (XI (XO (XI (XI (XO (XI (XO (XI (XI (XI (XO (XI (XI (XI (XO
+    (XO (XO (XI (XO (XO (XI (XO (XO (XI
+    XH))))))))))))))))))))))))))))))) :: ((Npos (XO (XI (XI (XO (XO (XO (XI
+    (XO (XO (XO (XI (XO (XI (XO (XO (XO (XI (XO (XI (XI (XI (XI (XI (XO (XO
+    (XI (XO (XO (XO (XI (XO XH)))))))))))))))))))))))))))))))) :: ((Npos (XI
+    (XO (XO (XO (XO (XI (XI (XO (XI (XO (XO (XO (XI (XO (XO (XI (XI (XI (XO
+    (XI (XI (XO (XO (XI (XO (XI (XO (XI
+    XH))))))))))))))))))))))))))))) :: ((Npos (XO (XI (XI (XI (XO (XI (XI (XO
+    (XI (XI (XO (XO (XI (XO (XO (XI (XI (XI (XO (XO (XI (XI (XO (XI (XI (XO
+    (XI (XO (XI (XI (XI XH)))))))))))))))))))))))))))))))) :: ((Npos (XO (XI
+    (XO (XO (XI (XO (XI (XO (XI (XO (XO (XO (XI (XI (XO (XO (XO (XI (XO (XI
+    (XO (XO (XI (XI (XO (XO (XO (XO (XO (XI (XI
+    XH)))))))))))))))))))))))))))))))) :: ((Npos (XO (XO (XO (XO (XO (XO (XI
+    (XO (XI (XO (XO (XO (XO (XO (XI (XI (XO (XI (XI (XI (XI (XI (XO (XO (XO
+    XH)))))))))))))))))))))))))) :: ((Npos (XI (XO (XO (XO (XO (XO (XO (XO
+    (XI (XO (XI (XO (XO (XO (XO (XI (XI (XO (XI (XI (XI (XI (XI (XO (XI (XI
+    (XO XH)))))))))))))))))))))))))))) :: ((Npos (XI (XI (XO (XI (XO (XI (XI
+    (XO (XI (XO (XO (XI (XO (XI (XO (XI (XO (XI (XI (XI (XO (XO (XI (XO (XI
+    (XO (XI (XO (XI (XO (XI XH)))))))))))))))))))))))))))))))) :: ((Npos (XO
+    (XO (XO (XI (XI (XO (XO (XI (XO (XI (XI (XO (XI (XI (XO (XO (XI (XI (XO
+    (XO (XO (XI (XI (XO (XO (XO (XI (XO (XI (XI
+    XH))))))))))))))))))))))))))))))) :: ((Npos (XO (XO (XO (XO (XI (XO (XO
+    (XO (XO (XI (XO (XI (XI (XI (XO (XO (XO (XO (XI (XI (XO (XO (XI (XI (XI
+    (XO (XI (XI (XO (XI (XI XH)))))))))))))))))))))))))))))))) :: ((Npos (XO
+    (XI (XO (XI (XI (XI (XI (XO (XI (XI (XI (XI (XO (XI (XI (XO (XI (XO (XI
+    (XI (XO (XI (XI (XI (XO (XI (XI (XO (XI (XI (XO
+    XH)))))))))))))))))))))))))))))))) :: ((Npos (XO (XI (XI (XI (XI (XI (XO
+    (XO (XI (XO (XI (XI (XI (XO (XI (XO (XO (XI (XO (XO (XO (XI (XI (XI (XO
+    (XO (XI (XI (XO (XI (XO XH)))))))))))))))))))))))))))))))) :: ((Npos (XO
+    (XO (XO (XO (XI (XI (XI (XI (XO (XO (XO (XO (XO (XI (XO (XI (XO (XI (XI
+    (XI (XI (XO (XO (XO (XI (XO (XO (XO (XI (XI (XI
+    XH)))))))))))))))))))))))))))))))) :: ((Npos (XI (XI (XO (XO (XI (XI (XI
+    (XI (XI (XI (XO (XI (XI (XO (XO (XI (XO (XO (XO (XI (XI (XI (XO (XO (XO
+    (XI (XI (XO (XI (XI (XO XH)))))))))))))))))))))))))))))))) :: ((Npos (XI
+    (XI (XO (XO (XI (XI (XI (XI (XO (XI (XI (XI (XO (XO (XO (XO (XO (XO (XI
+    (XO (XI (XI (XI (XO (XI (XO (XI (XO (XO (XI
+    XH))))))))))))))))))))))))))))))) :: ((Npos (XO (XO (XI (XI (XO (XI (XO
+    (XO (XI (XO (XO (XI (XO (XO (XO (XI (XO (XI (XI (XI (XI (XO (XI (XO (XI
+    (XO (XI (XO (XI (XI (XI XH)))))))))))))))))))))))))))))))) :: ((Npos (XO
+    (XO (XO (XO (XO (XO (XO (XO (XI (XO (XO (XO (XO (XI (XI (XO (XI (XO (XI
+    (XI (XI (XO (XO (XO (XI (XO (XI (XO (XI (XO (XI
+    XH)))))))))))))))))))))))))))))))) :: ((Npos (XI (XO (XI (XI (XO (XO (XI
+    (XI (XO (XI (XO (XI (XI (XO (XI (XO (XO (XI (XO (XO (XO (XI (XI (XO (XI
+    (XI (XI (XI (XI (XO (XO XH)))))))))))))))))))))))))))))))) :: ((Npos (XI
+    (XI (XO (XO (XO (XO (XI (XO (XI (XO (XO (XO (XI (XO (XO (XI (XI (XO (XI
+    (XI (XI (XI (XI (XI (XI (XI (XO (XO (XI (XO
+    XH))))))))))))))))))))))))))))))) :: ((Npos (XI (XO (XI (XO (XO (XO (XO
+    (XI (XO (XI (XI (XO (XI (XI (XI (XO (XO (XI (XO (XO (XO (XI (XO (XI (XI
+    (XI (XI (XI (XI (XI (XO XH)))))))))))))))))))))))))))))))) :: ((Npos (XI
+    (XO (XI (XI (XI (XO (XO (XO (XI (XI (XI (XO (XO (XI (XO (XO (XI (XI (XI
+    (XO (XO (XO (XI (XO (XI (XO (XI (XO (XI (XO
+    XH))))))))))))))))))))))))))))))) :: ((Npos (XO (XO (XO (XI (XI (XO (XI
+    (XI (XO (XI (XO (XO (XI (XI (XI (XI (XI (XO (XO (XI (XO (XI (XO (XI (XI
+    (XI (XI (XO (XI (XO (XO XH)))))))))))))))))))))))))))))))) :: ((Npos (XO
+    (XO (XI (XI (XO (XI (XI (XI (XO (XO (XI (XI (XO (XI (XI (XI (XI (XO (XI
+    (XI (XI (XO (XI (XO (XI (XO (XI (XI (XI
+    XH)))))))))))))))))))))))))))))) :: ((Npos (XI (XI (XO (XO (XO (XI (XI
+    (XI (XI (XO (XO (XI (XO (XO (XI (XO (XI (XO (XI (XI (XI (XO (XO (XI (XO
+    (XI (XI (XI (XO (XI XH))))))))))))))))))))))))))))))) :: ((Npos (XI (XI
+    (XO (XO (XI (XI (XO (XI (XO (XI (XI (XO (XO (XO (XI (XI (XI (XI (XO (XI
+    (XO (XO (XO (XO (XO (XI (XI (XI (XI (XI (XI
+    XH)))))))))))))))))))))))))))))))) :: ((Npos (XI (XO (XO (XO (XO (XI (XI
+    (XO (XO (XO (XO (XI (XO (XO (XI (XI (XO (XI (XI (XO (XO (XO (XO (XI (XO
+    (XI (XI (XI (XO (XI XH))))))))))))))))))))))))))))))) :: ((Npos (XI (XO
+    (XO (XO (XI (XO (XO (XI (XO (XO (XO (XI (XO (XI (XO (XO (XI (XO (XO (XO
+    (XO (XO (XI (XO (XI (XO (XI (XI (XO (XI (XO
+    XH)))))))))))))))))))))))))))))))) :: ((Npos (XI (XO (XI (XI (XO (XO (XO
+    (XO (XI (XO (XO (XO (XI (XO (XI (XI (XI (XI (XI (XI (XI (XO (XI (XO (XI
+    (XI (XO (XO (XO (XO (XI XH)))))))))))))))))))))))))))))))) :: ((Npos (XO
+    (XI (XO (XI (XO (XI (XI (XO (XI (XO (XO (XO (XO (XI (XI (XI (XO (XO (XO
+    (XI (XO (XI (XO (XO (XO (XI (XI (XO (XO (XI (XO
+    XH)))))))))))))))))))))))))))))))) :: ((Npos (XI (XO (XO (XI (XO (XO (XO
+    (XO (XI (XO (XI (XO (XI (XO (XI (XO (XI (XI (XO (XO (XO (XI (XO (XO (XO
+    (XI (XI (XO (XO (XI (XO XH)))))))))))))))))))))))))))))))) :: ((Npos (XO
+    (XI (XO (XO (XI (XO (XI (XI (XO (XO (XI (XI (XI (XO (XO (XO (XI (XO (XO
+    (XI (XI (XO (XO (XO (XI (XO (XO (XI (XI (XI (XO
+    XH)))))))))))))))))))))))))))))))) :: ((Npos (XO (XO (XO (XI (XO (XI (XO
+    (XO (XI (XI (XO (XO (XO (XI (XO (XO (XI (XO (XI (XO (XO (XI (XO (XI (XI
+    (XI (XO (XO (XI (XO (XO XH)))))))))))))))))))))))))))))))) :: ((Npos (XI
+    (XO (XI (XI (XO (XI (XO (XI (XI (XO (XO (XI (XO (XI (XO (XO (XO (XI (XI
+    (XO (XI (XO (XO (XI (XO (XO (XI (XI (XO
+    XH)))))))))))))))))))))))))))))) :: ((Npos (XI (XI (XO (XO (XO (XI (XI
+    (XI (XO (XO (XI (XI (XI (XO (XO (XI (XI (XI (XI (XI (XI (XO (XI (XI (XO
+    (XO (XO (XO (XO (XO XH))))))))))))))))))))))))))))))) :: ((Npos (XI (XO
+    (XI (XO (XI (XI (XI (XI (XO (XO (XO (XI (XO (XO (XO (XO (XI (XO (XO (XI
+    (XO (XO (XO (XO (XO (XO (XO (XO (XO (XI
+    XH))))))))))))))))))))))))))))))) :: ((Npos (XI (XO (XI (XO (XO (XI (XI
+    (XI (XI (XO (XO (XI (XI (XI (XO (XI (XI (XO (XO (XI (XO (XO (XO (XO (XO
+    (XO (XI XH)))))))))))))))))))))))))))) :: ((Npos (XO (XO (XI (XI (XO (XO
+    (XO (XO (XI (XI (XI (XO (XO (XI (XO (XI (XO (XO (XI (XO (XO (XO (XI (XO
+    (XI (XI (XI (XI (XI (XO (XI XH)))))))))))))))))))))))))))))))) :: ((Npos
+    (XI (XO (XI (XI (XI (XO (XO (XI (XI (XI (XO (XI (XO (XO (XO (XO (XO (XI
+    (XI (XO (XI (XO (XI (XI (XI (XO (XO (XI (XI (XO (XI
+    XH)))))))))))))))))))))))))))))))) :: ((Npos (XI (XO (XI (XI (XO (XI (XO
+    (XO (XO (XI (XO (XO (XO (XI (XI (XO (XI (XO (XI (XO (XI (XI (XI (XO (XI
+    (XI (XO (XO (XO (XI (XI XH)))))))))))))))))))))))))))))))) :: ((Npos (XO
+    (XI (XI (XO (XO (XO (XI (XI (XI (XO (XI (XI (XI (XO (XO (XO (XO (XI (XI
+    (XO (XO (XI (XI (XO (XI (XO (XO (XI (XO (XI (XI
+    XH)))))))))))))))))))))))))))))))) :: ((Npos (XO (XI (XO (XO (XO (XO (XO
+    (XO (XI (XI (XI (XI (XO (XO (XI (XO (XI (XI (XI (XO (XO (XO (XI (XI (XO
+    (XO (XO (XI (XI (XO (XO XH)))))))))))))))))))))))))))))))) :: ((Npos (XI
+    (XI (XI (XI (XI (XI (XI (XO (XI (XI (XI (XO (XO (XI (XI (XI (XO (XI (XI
+    (XO (XO (XI (XI (XO (XO (XI (XI (XO (XO (XO
+    XH))))))))))))))))))))))))))))))) :: ((Npos (XO (XO (XI (XO (XO (XO (XI
+    (XI (XI (XI (XO (XO (XI (XI (XI (XI (XI (XO (XO (XI (XI (XI (XI (XI
+    XH))))))))))))))))))))))))) :: ((Npos (XI (XO (XI (XO (XO (XI (XO (XI (XI
+    (XI (XO (XO (XI (XI (XO (XO (XI (XO (XO (XI (XO (XI (XI (XI (XI (XO (XI
+    (XI (XI (XO (XI XH)))))))))))))))))))))))))))))))) :: ((Npos (XO (XI (XO
+    (XI (XI (XI (XO (XI (XI (XO (XO (XO (XI (XI (XI (XI (XO (XI (XO (XI (XO
+    (XI (XI (XI (XI (XO (XO (XO (XO (XI (XI
+    XH)))))))))))))))))))))))))))))))) :: ((Npos (XO (XO (XI (XO (XO (XI (XI
+    (XI (XI (XI (XO (XO (XO (XO (XO (XO (XO (XI (XI (XI (XO (XI (XI (XO (XO
+    (XO (XI (XO (XO (XI (XI XH)))))))))))))))))))))))))))))))) :: ((Npos (XI
+    (XO (XO (XI (XI (XO (XI (XI (XI (XO (XI (XI (XO (XI (XO (XO (XO (XO (XO
+    (XI (XO (XI (XI (XO (XO (XO (XO (XO (XI (XI (XO
+    XH)))))))))))))))))))))))))))))))) :: ((Npos (XO (XO (XI (XO (XO (XI (XI
+    (XO (XI (XI (XO (XO (XO (XO (XO (XO (XO (XI (XO (XI (XI (XI (XO (XO (XO
+    (XI (XI (XO XH))))))))))))))))))))))))))))) :: ((Npos (XI (XI (XO (XO (XO
+    (XO (XI (XO (XO (XI (XO (XO (XI (XO (XO (XO (XO (XI (XO (XO (XI (XI (XO
+    (XI (XO (XO (XI (XI (XO (XO XH))))))))))))))))))))))))))))))) :: ((Npos
+    (XI (XI (XO (XI (XI (XI (XO (XO (XO (XI (XI (XI (XO (XI (XO (XI (XO (XI
+    (XI (XI (XO (XI (XO (XO (XI (XI (XO (XO (XI (XI
+    XH))))))))))))))))))))))))))))))) :: ((Npos (XI (XO (XI (XO (XI (XO (XI
+    (XO (XO (XO (XI (XI (XI (XI (XI (XI (XI (XO (XI (XO (XI (XI (XO (XO (XI
+    (XI (XO (XI (XI (XO (XI XH)))))))))))))))))))))))))))))))) :: ((Npos (XO
+    (XI (XI (XI (XO (XO (XO (XI (XI (XI (XO (XI (XO (XI (XI (XI (XI (XI (XI
+    (XI (XO (XO (XI (XO (XO (XI (XO (XO (XI (XO (XO
+    XH)))))))))))))))))))))))))))))))) :: ((Npos (XI (XO (XI (XO (XI (XO (XI
+    (XI (XO (XO (XI (XI (XO (XO (XO (XI (XI (XO (XO (XO (XO (XI (XI (XO (XO
+    (XO (XI (XO (XO (XI (XO XH)))))))))))))))))))))))))))))))) :: ((Npos (XI
+    (XI (XI (XI (XO (XI (XO (XO (XI (XI (XO (XI (XO (XI (XO (XI (XO (XI (XO
+    (XO (XI (XI (XO (XO (XI (XI (XI (XI (XI (XI
+    XH))))))))))))))))))))))))))))))) :: ((Npos (XI (XO (XO (XO (XI (XI (XI
+    (XI (XI (XI (XO (XI (XI (XI (XO (XO (XO (XO (XI (XO (XI (XI (XO (XI (XI
+    (XO (XI (XO (XO (XI (XO XH)))))))))))))))))))))))))))))))) :: ((Npos (XO
+    (XI (XO (XO (XO (XI (XI (XO (XI (XI (XI (XO (XI (XO (XI (XI (XO (XO (XO
+    (XI (XO (XI (XO (XO (XO (XI (XI (XI (XI (XI (XO
+    XH)))))))))))))))))))))))))))))))) :: ((Npos (XO (XI (XO (XI (XI (XI (XO
+    (XO (XO (XO (XO (XO (XI (XO (XI (XO (XO (XI (XI (XO (XO (XO (XO (XO (XO
+    (XO (XO (XO (XO (XI (XI XH)))))))))))))))))))))))))))))))) :: ((Npos (XI
+    (XI (XO (XI (XO (XI (XI (XO (XI (XO (XI (XO (XO (XI (XI (XO (XI (XO (XI
+    (XO (XO (XI (XO (XO (XO (XO (XO (XI (XI (XO (XI
+    XH)))))))))))))))))))))))))))))))) :: ((Npos (XI (XI (XO (XO (XO (XO (XI
+    (XI (XO (XI (XI (XI (XO (XI (XO (XO (XI (XO (XI (XI (XO (XO (XI (XI (XO
+    (XI (XO (XO (XO (XO XH))))))))))))))))))))))))))))))) :: ((Npos (XI (XO
+    (XI (XI (XI (XO (XO (XI (XI (XI (XO (XO (XI (XI (XI (XI (XI (XO (XI (XO
+    (XO (XO (XI (XI (XO (XO (XO (XO (XO (XI
+    XH))))))))))))))))))))))))))))))) :: ((Npos (XO (XI (XI (XO (XI (XI (XI
+    (XO (XI (XI (XI (XI (XO (XI (XO (XO (XI (XI (XI (XO (XI (XO (XI (XI (XO
+    (XI (XO (XO (XI (XO XH))))))))))))))))))))))))))))))) :: ((Npos (XI (XI
+    (XI (XO (XO (XI (XO (XI (XI (XO (XO (XI (XO (XI (XO (XO (XO (XO (XI (XO
+    (XI (XO (XO (XO (XO (XI (XO (XO (XO (XI (XO
+    XH)))))))))))))))))))))))))))))))) :: ((Npos (XI (XI (XO (XI (XO (XI (XI
+    (XO (XO (XI (XI (XI (XI (XI (XI (XO (XI (XO (XI (XI (XI (XO (XO (XO (XI
+    (XO (XI (XO (XI (XI (XO XH)))))))))))))))))))))))))))))))) :: ((Npos (XO
+    (XI (XI (XO (XI (XI (XI (XI (XI (XI (XO (XI (XI (XI (XI (XI (XO (XI (XO
+    (XO (XI (XO (XO (XI (XI (XI (XO (XI
+    XH))))))))))))))))))))))))))))) :: ((Npos (XI (XO (XI (XI (XO (XI (XI (XI
+    (XI (XO (XO (XI (XO (XI (XO (XO (XI (XI (XO (XO (XO (XO (XO (XI (XI (XI
+    (XI XH)))))))))))))))))))))))))))) :: ((Npos (XO (XO (XI (XO (XO (XO (XI
+    (XI (XO (XO (XO (XI (XO (XI (XI (XO (XO (XI (XO (XI (XO (XI (XI (XI (XO
+    (XO (XI (XI (XI (XO (XI XH)))))))))))))))))))))))))))))))) :: ((Npos (XO
+    (XO (XO (XI (XI (XI (XI (XO (XO (XI (XO (XI (XI (XO (XO (XO (XI (XO (XI
+    (XO (XO (XI (XI (XO (XO (XO (XO (XI (XI (XO (XO
+    XH)))))))))))))))))))))))))))))))) :: ((Npos (XO (XO (XO (XI (XO (XI (XO
+    (XO (XO (XI (XO (XI (XO (XI (XI (XI (XI (XO (XO (XO (XI (XO (XI (XO (XI
+    (XI (XO (XI (XO (XI (XO XH)))))))))))))))))))))))))))))))) :: ((Npos (XO
+    (XI (XI (XO (XI (XI (XO (XO (XI (XO (XI (XO (XI (XO (XO (XI (XI (XI (XI
+    (XO (XO (XI (XO (XO (XI (XO (XI (XO (XI (XO (XO
+    XH)))))))))))))))))))))))))))))))) :: ((Npos (XO (XI (XO (XI (XO (XI (XO
+    (XO (XI (XO (XI (XO (XI (XO (XO (XO (XI (XI (XI (XI (XO (XO (XI (XO (XI
+    (XI (XO (XI (XI (XI (XI XH)))))))))))))))))))))))))))))))) :: ((Npos (XO
+    (XO (XI (XI (XO (XO (XO (XO (XI (XO (XO (XI (XO (XI (XI (XI (XI (XO (XO
+    (XO (XI (XI (XI (XI (XI (XI (XI (XI (XI (XO (XO
+    XH)))))))))))))))))))))))))))))))) :: ((Npos (XI (XI (XI (XO (XI (XO (XO
+    (XI (XI (XI (XO (XI (XI (XO (XO (XI (XI (XO (XO (XO (XO (XO (XI (XO (XI
+    (XO (XO (XO (XO (XO (XO XH)))))))))))))))))))))))))))))))) :: ((Npos (XI
+    (XI (XI (XO (XO (XI (XI (XO (XI (XO (XO (XI (XO (XO (XI (XO (XO (XO (XO
+    (XI (XO (XO (XI (XO (XO (XO (XI (XO (XI (XO (XI
+    XH)))))))))))))))))))))))))))))))) :: ((Npos (XO (XI (XI (XI (XO (XI (XI
+    (XI (XO (XO (XI (XO (XI (XO (XI (XO (XO (XI (XO (XO (XI (XO (XI (XI (XI
+    (XI (XI (XO (XO XH)))))))))))))))))))))))))))))) :: ((Npos (XO (XI (XO
+    (XI (XO (XI (XO (XI (XO (XO (XI (XO (XO (XO (XI (XO (XO (XI (XI (XI (XO
+    (XO (XO (XI (XO (XO (XO (XI (XO
+    XH)))))))))))))))))))))))))))))) :: ((Npos (XO (XI (XO (XI (XI (XI (XO
+    (XO (XO (XI (XI (XO (XI (XO (XI (XI (XO (XO (XO (XO (XO (XI (XO (XO (XO
+    (XI (XI (XI (XI (XO (XI XH)))))))))))))))))))))))))))))))) :: ((Npos (XI
+    (XO (XI (XI (XO (XI (XI (XO (XO (XO (XI (XI (XI (XO (XI (XO (XI (XI (XI
+    (XI (XO (XI (XO (XO (XI (XO (XO (XI (XI (XI (XI
+    XH)))))))))))))))))))))))))))))))) :: ((Npos (XI (XO (XO (XI (XO (XO (XO
+    (XI (XI (XI (XO (XI (XO (XI (XO (XI (XO (XI (XO (XI (XO (XO (XI (XI (XO
+    (XI (XI (XO (XO (XO (XI XH)))))))))))))))))))))))))))))))) :: ((Npos (XO
+    (XO (XO (XI (XO (XI (XO (XO (XO (XI (XI (XI (XO (XI (XI (XI (XI (XI (XI
+    (XO (XO (XI (XO (XO (XO (XO (XO (XI (XI
+    XH)))))))))))))))))))))))))))))) :: ((Npos (XI (XO (XI (XI (XO (XO (XI
+    (XO (XO (XO (XO (XO (XI (XO (XO (XI (XI (XI (XO (XO (XO (XI (XO (XI (XI
+    (XO (XO (XO (XO (XI (XO XH)))))))))))))))))))))))))))))))) :: ((Npos (XO
+    (XO (XI (XO (XO (XO (XO (XI (XO (XO (XO (XI (XO (XI (XI (XO (XI (XO (XI
+    (XI (XI (XI (XO (XI (XO (XI (XO (XI (XI (XI
+    XH))))))))))))))))))))))))))))))) :: ((Npos (XO (XI (XI (XO (XI (XO (XO
+    (XO (XO (XO (XI (XI (XI (XO (XI (XO (XI (XO (XO (XO (XO (XO (XI (XO (XO
+    (XI (XI (XI (XI (XI (XI XH)))))))))))))))))))))))))))))))) :: ((Npos (XO
+    (XI (XI (XI (XI (XO (XO (XO (XO (XO (XI (XI (XI (XO (XI (XI (XO (XI (XI
+    (XI (XI (XI (XI (XI (XO (XI (XI (XI (XI (XI (XO
+    XH)))))))))))))))))))))))))))))))) :: ((Npos (XO (XO (XO (XO (XI (XO (XO
+    (XO (XO (XI (XI (XO (XI (XO (XO (XO (XI (XO (XO (XO (XO (XI (XI (XI (XI
+    (XO (XI XH)))))))))))))))))))))))))))) :: ((Npos (XI (XO (XO (XI (XI (XO
+    (XO (XI (XI (XO (XI (XO (XO (XO (XO (XO (XI (XI (XI (XI (XO (XO (XO (XI
+    (XO (XO (XI (XO (XI XH)))))))))))))))))))))))))))))) :: ((Npos (XO (XO
+    (XI (XI (XO (XO (XO (XI (XI (XO (XO (XO (XI (XI (XO (XO (XO (XI (XO (XI
+    (XI (XO (XO (XI (XO (XI (XI (XO (XO (XO (XO
+    XH)))))))))))))))))))))))))))))))) :: ((Npos (XO (XO (XO (XO (XI (XO (XI
+    (XI (XO (XO (XI (XI (XO (XO (XI (XI (XO (XI (XI (XI (XO (XO (XI (XI (XI
+    (XO (XO (XI (XI (XI XH))))))))))))))))))))))))))))))) :: ((Npos (XO (XI
+    (XI (XI (XO (XO (XO (XI (XI (XO (XO (XI (XO (XI (XO (XI (XO (XI (XO (XI
+    (XO (XO (XO (XO (XO (XO (XO (XO (XO (XI (XI
+    XH)))))))))))))))))))))))))))))))) :: ((Npos (XI (XO (XI (XI (XO (XO (XO
+    (XO (XI (XI (XO (XI (XI (XI (XO (XI (XI (XO (XI (XI (XI (XI (XI (XO (XI
+    (XI (XI (XO (XI (XO (XI XH)))))))))))))))))))))))))))))))) :: ((Npos (XI
+    (XO (XO (XO (XI (XI (XO (XI (XO (XI (XO (XO (XI (XO (XO (XO (XO (XO (XI
+    (XI (XI (XI (XI (XO (XI (XI (XI (XI (XI (XI
+    XH))))))))))))))))))))))))))))))) :: ((Npos (XI (XO (XO (XI (XI (XO (XI
+    (XO (XO (XI (XI (XI (XO (XO (XI (XI (XI (XO (XO (XI (XO (XO (XO (XI (XO
+    (XO (XO (XO (XI (XO XH))))))))))))))))))))))))))))))) :: ((Npos (XI (XO
+    (XO (XI (XI (XI (XO (XI (XI (XO (XO (XO (XO (XO (XO (XO (XO (XO (XI (XO
+    (XO (XO (XI (XO (XO (XI (XI (XI (XO (XI (XO
+    XH)))))))))))))))))))))))))))))))) :: ((Npos (XI (XO (XO (XO (XO (XI (XI
+    (XO (XO (XO (XI (XO (XO (XO (XI (XI (XI (XO (XI (XI (XO (XO (XI (XI (XO
+    (XI (XO (XI (XO (XO (XI XH)))))))))))))))))))))))))))))))) :: ((Npos (XI
+    (XO (XO (XO (XO (XO (XO (XO (XO (XI (XO (XI (XI (XO (XO (XI (XI (XO (XI
+    (XI (XI (XI (XI (XO (XI (XO (XI (XI (XI (XI
+    XH))))))))))))))))))))))))))))))) :: ((Npos (XI (XI (XI (XI (XO (XO (XO
+    (XO (XI (XO (XO (XI (XO (XI (XI (XI (XO (XO (XO (XO (XO (XI (XI (XI (XI
+    (XI (XO (XI (XO (XO (XO XH)))))))))))))))))))))))))))))))) :: ((Npos (XI
+    (XI (XO (XI (XO (XO (XO (XO (XI (XO (XO (XO (XO (XI (XI (XI (XI (XO (XO
+    (XO (XO (XO (XI (XI (XI (XO (XI (XI
+    XH))))))))))))))))))))))))))))) :: ((Npos (XO (XI (XI (XO (XI (XI (XI (XI
+    (XO (XO (XO (XO (XI (XI (XO (XO (XO (XO (XO (XI (XI (XI (XO (XI (XI (XI
+    (XO (XI (XO (XO (XI XH)))))))))))))))))))))))))))))))) :: ((Npos (XO (XI
+    (XI (XI (XO (XO (XI (XI (XI (XI (XO (XO (XI (XO (XO (XO (XO (XO (XO (XI
+    (XO (XO (XO (XO (XI (XO (XI (XI (XO (XO (XO
+    XH)))))))))))))))))))))))))))))))) :: ((Npos (XI (XI (XI (XO (XI (XO (XO
+    (XI (XI (XI (XO (XI (XI (XI (XI (XO (XO (XO (XI (XO (XI (XO (XO (XI (XI
+    (XI (XI (XO (XI (XO (XO XH)))))))))))))))))))))))))))))))) :: ((Npos (XO
+    (XI (XO (XO (XI (XO (XI (XI (XI (XI (XO (XI (XI (XI (XI (XO (XI (XO (XI
+    (XI (XI (XI (XI (XI (XO (XO (XI (XI (XO (XI
+    XH))))))))))))))))))))))))))))))) :: ((Npos (XO (XO (XI (XO (XI (XI (XO
+    (XI (XO (XI (XO (XI (XO (XO (XI (XO (XI (XO (XI (XI (XO (XI (XO (XI (XI
+    (XI (XO (XI (XI (XI (XO XH)))))))))))))))))))))))))))))))) :: ((Npos (XI
+    (XI (XO (XO (XO (XO (XI (XI (XI (XO (XI (XI (XI (XO (XO (XI (XI (XO (XI
+    (XO (XI (XI (XO (XI (XI (XO (XI (XO (XO (XI (XI
+    XH)))))))))))))))))))))))))))))))) :: ((Npos (XI (XO (XO (XO (XI (XO (XO
+    (XI (XO (XI (XI (XI (XI (XI (XO (XO (XO (XO (XO (XI (XI (XO (XI (XO (XI
+    (XO (XO (XO (XI (XO XH))))))))))))))))))))))))))))))) :: ((Npos (XI (XI
+    (XO (XI (XI (XO (XO (XI (XO (XO (XI (XO (XI (XO (XI (XI (XI (XI (XO (XI
+    (XO (XI (XO (XO (XI (XI (XO (XO (XO (XO (XO
+    XH)))))))))))))))))))))))))))))))) :: ((Npos (XO (XO (XO (XI (XO (XO (XI
+    (XO (XO (XO (XO (XI (XI (XI (XO (XI (XO (XI (XO (XO (XI (XO (XI (XO (XO
+    (XO (XO (XO (XO (XI (XO XH)))))))))))))))))))))))))))))))) :: ((Npos (XI
+    (XO (XO (XO (XI (XI (XI (XI (XO (XO (XO (XI (XO (XO (XO (XO (XI (XI (XI
+    (XI (XI (XO (XI (XI (XI (XO (XI XH)))))))))))))))))))))))))))) :: ((Npos
+    (XO (XI (XI (XO (XO (XI (XI (XO (XI (XI (XI (XI (XO (XO (XO (XI (XO (XO
+    (XO (XO (XI (XI (XO (XI (XO (XI (XO (XO (XI (XI (XI
+    XH)))))))))))))))))))))))))))))))) :: ((Npos (XI (XI (XI (XO (XI (XO (XI
+    (XI (XO (XI (XO (XO (XO (XO (XO (XO (XI (XI (XO (XO (XO (XO (XI (XO (XI
+    (XI (XI (XI (XI (XO (XO XH)))))))))))))))))))))))))))))))) :: ((Npos (XI
+    (XI (XI (XO (XI (XI (XI (XI (XI (XO (XI (XI (XI (XO (XO (XO (XI (XO (XI
+    (XI (XI (XI (XI (XO (XO (XI (XO (XO (XI (XO (XI
+    XH)))))))))))))))))))))))))))))))) :: ((Npos (XI (XO (XI (XI (XO (XI (XO
+    (XI (XI (XI (XI (XO (XO (XI (XO (XI (XO (XI (XO (XI (XO (XO (XI (XO (XO
+    (XO (XO (XI (XO (XO XH))))))))))))))))))))))))))))))) :: ((Npos (XI (XI
+    (XI (XI (XO (XI (XI (XO (XI (XO (XI (XO (XI (XI (XI (XO (XI (XI (XO (XI
+    (XI (XI (XO (XI (XI (XI (XO (XO (XI
+    XH)))))))))))))))))))))))))))))) :: ((Npos (XI (XI (XI (XI (XO (XO (XO
+    (XI (XI (XI (XO (XI (XO (XO (XO (XI (XI (XO (XI (XI (XO (XI (XI (XI (XO
+    (XI (XI (XI (XI (XO (XI XH)))))))))))))))))))))))))))))))) :: ((Npos (XI
+    (XO (XI (XO (XO (XI (XO (XO (XI (XI (XO (XO (XO (XI (XI (XI (XO (XO (XO
+    (XO (XO (XI (XO (XI (XO (XI (XO (XO (XI (XI
+    XH))))))))))))))))))))))))))))))) :: ((Npos (XI (XO (XO (XO (XO (XI (XO
+    (XI (XI (XI (XO (XI (XO (XO (XI (XI (XI (XO (XO (XO (XI (XI (XI (XI (XO
+    (XO (XO (XO (XO (XO (XI XH)))))))))))))))))))))))))))))))) :: ((Npos (XI
+    (XI (XI (XO (XO (XI (XO (XI (XI (XI (XI (XI (XI (XO (XI (XO (XI (XO (XO
+    (XO (XI (XO (XI (XI (XO (XO (XO (XI (XI (XI (XO
+    XH)))))))))))))))))))))))))))))))) :: ((Npos (XO (XO (XO (XO (XI (XI (XO
+    (XI (XO (XO (XI (XI (XI (XO (XI (XO (XO (XI (XI (XO (XI (XO (XO (XI (XI
+    (XO (XO (XO (XO (XO (XI XH)))))))))))))))))))))))))))))))) :: ((Npos (XO
+    (XI (XI (XO (XO (XI (XO (XO (XI (XI (XO (XI (XO (XO (XI (XI (XI (XI (XO
+    (XI (XO (XO (XO (XO (XO (XI (XI (XO (XI
+    XH)))))))))))))))))))))))))))))) :: ((Npos (XI (XI (XI (XI (XI (XI (XI
+    (XI (XI (XI (XI (XO (XI (XO (XO (XO (XO (XI (XO (XO (XO (XO (XI (XO (XI
+    (XO (XO (XO (XI (XI (XI XH)))))))))))))))))))))))))))))))) :: ((Npos (XO
+    (XO (XI (XO (XI (XI (XO (XO (XO (XI (XO (XO (XI (XI (XO (XO (XI (XO (XO
+    (XI (XI (XO (XI (XI (XO (XI (XI (XI (XO (XI (XI
+    XH)))))))))))))))))))))))))))))))) :: ((Npos (XI (XO (XO (XI (XO (XO (XO
+    (XI (XO (XI (XI (XO (XO (XI (XO (XO (XO (XO (XI (XI (XI (XO (XI (XO (XO
+    (XO (XO (XO (XI (XO (XI XH)))))))))))))))))))))))))))))))) :: ((Npos (XO
+    (XI (XI (XI (XO (XO (XO (XO (XI (XO (XI (XO (XO (XI (XI (XO (XO (XO (XO
+    (XO (XI (XO (XI (XI (XI (XO (XI (XO (XO (XO
+    XH))))))))))))))))))))))))))))))) :: ((Npos (XI (XI (XI (XI (XI (XO (XI
+    (XO (XI (XO (XI (XO (XI (XO (XO (XO (XI (XO (XI (XO (XO (XO (XO (XO (XI
+    (XO (XO (XI (XO (XI (XO XH)))))))))))))))))))))))))))))))) :: ((Npos (XI
+    (XO (XI (XI (XO (XI (XO (XO (XI (XO (XI (XO (XI (XI (XI (XO (XI (XO (XO
+    (XI (XO (XI (XI (XO (XI (XO (XO (XO (XO (XI
+    XH))))))))))))))))))))))))))))))) :: ((Npos (XI (XO (XI (XO (XO (XO (XO
+    (XI (XO (XO (XO (XI (XI (XI (XO (XI (XI (XO (XI (XI (XO (XI (XO (XI (XI
+    (XO (XO (XI (XI (XI (XO XH)))))))))))))))))))))))))))))))) :: ((Npos (XO
+    (XI (XO (XO (XI (XO (XO (XO (XI (XI (XI (XO (XI (XI (XO (XI (XO (XO (XI
+    (XI (XI (XI (XI (XO (XO (XO (XO (XI (XO (XO (XO
+    XH)))))))))))))))))))))))))))))))) :: ((Npos (XI (XI (XO (XO (XO (XO (XO
+    (XI (XI (XO (XO (XI (XO (XI (XO (XI (XI (XO (XO (XO (XO (XO (XI (XO (XO
+    (XI (XI (XO (XO (XO (XO XH)))))))))))))))))))))))))))))))) :: ((Npos (XI
+    (XO (XO (XO (XO (XI (XI (XI (XI (XO (XO (XI (XI (XI (XO (XI (XI (XO (XO
+    (XO (XI (XO (XI (XO (XO (XO (XO (XI (XI
+    XH)))))))))))))))))))))))))))))) :: ((Npos (XI (XI (XO (XO (XI (XI (XO
+    (XO (XI (XO (XO (XO (XO (XO (XI (XO (XI (XI (XO (XI (XO (XI (XO (XO (XO
+    (XI (XI (XO XH))))))))))))))))))))))))))))) :: ((Npos (XI (XO (XI (XO (XO
+    (XO (XI (XO (XI (XO (XO (XO (XO (XI (XI (XI (XO (XI (XO (XI (XO (XO (XI
+    (XO (XO (XI (XO (XO (XO (XI XH))))))))))))))))))))))))))))))) :: ((Npos
+    (XO (XI (XI (XO (XO (XO (XI (XI (XI (XI (XO (XO (XI (XO (XI (XI (XO (XO
+    (XI (XO (XO (XI (XO (XI (XI (XI (XO (XO (XO (XO (XO
+    XH)))))))))))))))))))))))))))))))) :: ((Npos (XI (XO (XI (XI (XI (XI (XO
+    (XO (XO (XI (XO (XI (XI (XO (XI (XI (XI (XO (XI (XO (XI (XI (XI (XO (XO
+    (XI (XI (XO (XI (XO (XO XH)))))))))))))))))))))))))))))))) :: ((Npos (XO
+    (XO (XI (XO (XI (XI (XI (XI (XI (XO (XO (XO (XO (XI (XO (XI (XO (XI (XI
+    (XI (XO (XO (XI (XI (XO (XO (XI (XO (XI (XO (XO
+    XH)))))))))))))))))))))))))))))))) :: ((Npos (XO (XO (XO (XI (XO (XI (XI
+    (XI (XI (XO (XO (XO (XO (XO (XI (XI (XI (XI (XI (XO (XI (XI (XI (XI (XO
+    (XI (XI (XI (XI (XO (XO XH)))))))))))))))))))))))))))))))) :: ((Npos (XO
+    (XI (XO (XI (XO (XO (XI (XI (XI (XI (XO (XO (XI (XI (XO (XI (XO (XO (XI
+    (XO (XI (XI (XI (XI (XO (XI (XO (XI (XO (XO
+    XH))))))))))))))))))))))))))))))) :: ((Npos (XI (XO (XI (XO (XO (XI (XI
+    (XO (XI (XI (XI (XO (XI (XI (XI (XI (XI (XI (XO (XI (XI (XO (XO (XI (XO
+    (XI (XO (XI (XO (XO (XI XH)))))))))))))))))))))))))))))))) :: ((Npos (XI
+    (XI (XI (XO (XI (XO (XI (XI (XI (XI (XI (XO (XI (XI (XO (XO (XO (XI (XI
+    (XI (XO (XI (XI (XO (XO (XI (XI (XI (XI (XI (XO
+    XH)))))))))))))))))))))))))))))))) :: ((Npos (XI (XI (XI (XI (XI (XO (XI
+    (XI (XO (XO (XO (XO (XO (XO (XO (XO (XO (XI (XO (XO (XI (XI (XI (XI (XI
+    (XO (XO (XO (XO (XI XH))))))))))))))))))))))))))))))) :: ((Npos (XI (XO
+    (XO (XO (XI (XI (XI (XI (XI (XO (XO (XI (XO (XI (XI (XO (XO (XO (XO (XO
+    (XI (XI (XI (XO (XO (XO (XI (XO XH))))))))))))))))))))))))))))) :: ((Npos
+    (XI (XO (XI (XO (XO (XO (XI (XO (XI (XO (XO (XI (XI (XI (XI (XI (XI (XI
+    (XO (XI (XI (XO (XO (XO (XI (XO (XI (XO (XI
+    XH)))))))))))))))))))))))))))))) :: ((Npos (XI (XI (XO (XI (XO (XO (XO
+    (XO (XI (XO (XI (XI (XO (XO (XI (XO (XI (XO (XO (XO (XI (XO (XO (XI (XI
+    (XI (XO (XI (XI (XI (XO XH)))))))))))))))))))))))))))))))) :: ((Npos (XO
+    (XI (XI (XO (XI (XO (XI (XO (XO (XI (XO (XO (XI (XO (XI (XO (XO (XI (XO
+    (XI (XI (XO (XI (XI (XI (XO (XO (XO (XO (XI (XI
+    XH)))))))))))))))))))))))))))))))) :: ((Npos (XO (XO (XI (XO (XO (XO (XI
+    (XO (XO (XI (XI (XI (XO (XI (XO (XI (XI (XO (XI (XO (XI (XI (XI (XI (XI
+    (XI (XI (XO (XI XH)))))))))))))))))))))))))))))) :: ((Npos (XI (XI (XI
+    (XO (XI (XO (XI (XI (XI (XO (XI (XO (XO (XI (XO (XI (XO (XI (XO (XI (XO
+    (XO (XO (XI (XO (XI (XI (XI (XO (XI
+    XH))))))))))))))))))))))))))))))) :: ((Npos (XO (XI (XO (XO (XO (XI (XI
+    (XI (XI (XO (XO (XI (XO (XO (XO (XI (XO (XO (XI (XI (XO (XI (XI (XI (XI
+    (XO (XI (XI (XI (XI XH))))))))))))))))))))))))))))))) :: ((Npos (XO (XO
+    (XI (XI (XO (XO (XO (XO (XO (XI (XI (XI (XI (XI (XO (XI (XO (XO (XO (XI
+    (XI (XI (XI (XO (XO (XO (XO (XO (XI (XI (XO
+    XH)))))))))))))))))))))))))))))))) :: ((Npos (XO (XI (XO (XO (XI (XI (XI
+    (XO (XO (XI (XI (XO (XI (XO (XO (XI (XI (XI (XO (XO (XI (XO (XI (XI (XI
+    (XO (XO (XI (XO (XO XH))))))))))))))))))))))))))))))) :: ((Npos (XI (XI
+    (XO (XI (XI (XI (XI (XO (XI (XO (XO (XI (XO (XI (XI (XI (XI (XO (XO (XO
+    (XI (XI (XI (XO (XI (XI (XO (XO (XO (XO (XO
+    XH)))))))))))))))))))))))))))))))) :: ((Npos (XO (XI (XI (XI (XO (XO (XO
+    (XO (XI (XI (XO (XI (XI (XO (XO (XO (XI (XO (XO (XI (XI (XO (XI (XO (XI
+    (XI (XO (XO (XO (XI XH))))))))))))))))))))))))))))))) :: ((Npos (XO (XI
+    (XI (XO (XI (XI (XO (XI (XO (XI (XI (XO (XI (XO (XI (XO (XO (XO (XO (XI
+    (XI (XI (XO (XO (XO (XI (XI (XO (XI (XO (XO
+    XH)))))))))))))))))))))))))))))))) :: ((Npos (XO (XI (XI (XI (XI (XO (XI
+    (XO (XI (XO (XI (XO (XO (XO (XI (XI (XO (XO (XO (XO (XO (XO (XO (XO (XO
+    (XO (XO (XI (XO (XO (XI XH)))))))))))))))))))))))))))))))) :: ((Npos (XO
+    (XI (XI (XO (XI (XO (XI (XI (XO (XO (XI (XI (XI (XO (XO (XO (XI (XO (XI
+    (XI (XI (XI (XO (XI (XI (XO (XO (XI (XO (XO (XO
+    XH)))))))))))))))))))))))))))))))) :: ((Npos (XI (XO (XO (XI (XO (XI (XI
+    (XI (XI (XO (XO (XO (XO (XO (XO (XO (XI (XO (XI (XI (XI (XI (XI (XI (XI
+    (XI (XO (XI (XI (XI (XO XH)))))))))))))))))))))))))))))))) :: ((Npos (XI
+    (XI (XI (XI (XI (XO (XI (XI (XI (XI (XI (XO (XI (XO (XI (XI (XO (XI (XO
+    (XI (XO (XI (XO (XI (XI (XI (XO (XO (XO (XI (XO
+    XH)))))))))))))))))))))))))))))))) :: ((Npos (XO (XI (XI (XO (XI (XO (XO
+    (XI (XI (XO (XI (XO (XO (XI (XO (XI (XI (XO (XO (XI (XO (XO (XO (XI (XI
+    (XI (XI (XO (XO (XO XH))))))))))))))))))))))))))))))) :: ((Npos (XI (XI
+    (XI (XI (XI (XI (XI (XO (XO (XO (XO (XO (XO (XO (XI (XO (XI (XO (XO (XO
+    (XI (XO (XI (XI (XO (XO (XI (XO (XI (XI (XO
+    XH)))))))))))))))))))))))))))))))) :: ((Npos (XI (XI (XI (XO (XI (XI (XI
+    (XO (XI (XI (XO (XI (XI (XI (XI (XI (XO (XO (XO (XI (XO (XO (XI (XI (XI
+    (XO (XO (XI (XO (XO (XO XH)))))))))))))))))))))))))))))))) :: ((Npos (XI
+    (XO (XI (XI (XO (XI (XI (XO (XO (XI (XI (XI (XO (XI (XO (XO (XI (XO (XO
+    (XI (XI (XI (XI (XO (XO (XI (XI (XI (XI
+    XH)))))))))))))))))))))))))))))) :: ((Npos (XO (XO (XO (XI (XO (XI (XO
+    (XI (XI (XO (XI (XI (XO (XO (XI (XO (XI (XO (XI (XI (XI (XI (XO (XI (XO
+    (XI (XO (XI (XI (XI (XI XH)))))))))))))))))))))))))))))))) :: ((Npos (XI
+    (XO (XI (XO (XO (XI (XO (XI (XO (XO (XO (XO (XI (XI (XI (XI (XO (XI (XO
+    (XO (XO (XI (XI (XI (XO (XI (XO (XI (XI (XI (XI
+    XH)))))))))))))))))))))))))))))))) :: ((Npos (XI (XI (XI (XO (XO (XO (XO
+    (XO (XO (XO (XI (XO (XI (XI (XO (XI (XI (XO (XO (XI (XO (XI (XI (XO (XI
+    (XO (XI (XI (XI (XO (XO XH)))))))))))))))))))))))))))))))) :: ((Npos (XI
+    (XO (XO (XO (XO (XI (XI (XI (XO (XO (XO (XO (XO (XO (XI (XO (XO (XO (XI
+    (XO (XI (XI (XI (XI (XO (XO (XI (XI (XI (XI
+    XH))))))))))))))))))))))))))))))) :: ((Npos (XI (XO (XO (XO (XI (XO (XO
+    (XO (XI (XO (XI (XO (XO (XI (XI (XI (XO (XI (XO (XO (XO (XI (XI (XO (XI
+    (XO (XI (XO (XI (XI (XI XH)))))))))))))))))))))))))))))))) :: ((Npos (XI
+    (XI (XO (XI (XI (XI (XI (XO (XI (XI (XI (XI (XO (XI (XI (XI (XO (XO (XI
+    (XI (XO (XI (XI (XO (XO (XO (XO (XI (XI (XO (XI
+    XH)))))))))))))))))))))))))))))))) :: ((Npos (XI (XO (XI (XI (XO (XI (XI
+    (XI (XO (XO (XI (XO (XO (XO (XO (XI (XI (XO (XI (XO (XO (XI (XO (XI (XO
+    (XO (XI (XO (XI (XI (XI XH)))))))))))))))))))))))))))))))) :: ((Npos (XI
+    (XI (XI (XO (XO (XO (XI (XO (XI (XI (XI (XI (XI (XI (XI (XO (XI (XO (XO
+    (XI (XI (XI (XO (XI (XO (XI (XI (XI (XO (XI
+    XH))))))))))))))))))))))))))))))) :: ((Npos (XO (XO (XI (XO (XI (XO (XI
+    (XO (XO (XI (XO (XI (XI (XI (XO (XO (XO (XO (XO (XO (XI (XO (XO (XI (XO
+    (XI (XO (XO (XO (XI (XI XH)))))))))))))))))))))))))))))))) :: ((Npos (XO
+    (XI (XI (XO (XI (XO (XI (XO (XI (XO (XO (XI (XI (XI (XI (XO (XO (XI (XO
+    (XO (XI (XO (XO (XI (XO (XI (XO (XI
+    XH))))))))))))))))))))))))))))) :: ((Npos (XO (XO (XO (XO (XI (XI (XI (XI
+    (XO (XI (XI (XO (XI (XO (XO (XI (XI (XO (XO (XO (XO (XI (XO (XO (XO (XI
+    (XI (XO (XI (XI (XO XH)))))))))))))))))))))))))))))))) :: ((Npos (XI (XI
+    (XI (XO (XO (XI (XO (XO (XI (XI (XI (XO (XI (XO (XI (XI (XO (XO (XI (XO
+    (XO (XO (XO (XI (XI (XO (XI (XO (XI
+    XH)))))))))))))))))))))))))))))) :: ((Npos (XI (XI (XI (XO (XO (XI (XI
+    (XO (XI (XO (XO (XI (XO (XO (XO (XO (XI (XI (XO (XO (XO (XO (XI (XI (XO
+    (XO (XO (XO (XO (XO (XI XH)))))))))))))))))))))))))))))))) :: ((Npos (XO
+    (XI (XO (XO (XI (XO (XO (XI (XO (XI (XO (XO (XI (XI (XI (XO (XI (XO (XO
+    (XO (XO (XO (XO (XO (XI (XI (XI (XI (XO (XO
+    XH))))))))))))))))))))))))))))))) :: ((Npos (XI (XO (XI (XO (XI (XO (XO
+    (XO (XI (XI (XO (XI (XI (XI (XI (XO (XI (XO (XO (XO (XO (XO (XI (XI (XI
+    (XO (XO (XO (XI (XI (XO XH)))))))))))))))))))))))))))))))) :: ((Npos (XI
+    (XI (XO (XI (XI (XI (XO (XI (XO (XI (XO (XI (XO (XO (XI (XO (XO (XO (XO
+    (XO (XO (XO (XO (XI (XO (XO (XO (XO (XO (XI
+    XH))))))))))))))))))))))))))))))) :: ((Npos (XO (XO (XO (XI (XI (XO (XO
+    (XI (XI (XI (XI (XO (XO (XO (XO (XI (XO (XO (XO (XO (XO (XI (XO (XO (XO
+    (XI (XO (XO (XO (XI (XO XH)))))))))))))))))))))))))))))))) :: ((Npos (XO
+    (XI (XO (XI (XO (XI (XI (XI (XO (XI (XI (XI (XI (XI (XI (XO (XI (XO (XO
+    (XO (XO (XO (XI (XI (XO (XO (XI (XO (XI
+    XH)))))))))))))))))))))))))))))) :: ((Npos (XI (XI (XO (XI (XO (XO (XI
+    (XO (XI (XI (XI (XO (XO (XO (XI (XI (XO (XO (XI (XI (XI (XI (XO (XI (XI
+    (XI (XI (XI (XO (XO (XI XH)))))))))))))))))))))))))))))))) :: ((Npos (XI
+    (XO (XI (XO (XO (XI (XO (XI (XO (XI (XI (XI (XO (XO (XO (XO (XO (XO (XO
+    (XO (XI (XO (XI (XI (XI (XO (XO (XO (XI (XI (XO
+    XH)))))))))))))))))))))))))))))))) :: ((Npos (XO (XO (XI (XO (XI (XI (XO
+    (XO (XO (XI (XI (XI (XI (XO (XO (XO (XO (XO (XI (XI (XO (XI (XI (XI (XI
+    (XI (XI (XO (XO (XI (XI XH)))))))))))))))))))))))))))))))) :: ((Npos (XO
+    (XO (XI (XO (XO (XO (XO (XI (XO (XI (XI (XO (XO (XO (XI (XO (XI (XI (XO
+    (XO (XI (XO (XO (XI (XO (XO (XO (XO (XO
+    XH)))))))))))))))))))))))))))))) :: ((Npos (XI (XO (XI (XO (XO (XI (XO
+    (XI (XO (XO (XO (XI (XI (XO (XO (XO (XI (XO (XI (XI (XI (XO (XI (XI (XO
+    (XI (XO (XI (XI (XO XH))))))))))))))))))))))))))))))) :: ((Npos (XI (XO
+    (XO (XO (XO (XO (XI (XI (XO (XI (XI (XO (XI (XO (XO (XO (XI (XO (XI (XI
+    (XI (XO (XO (XI (XI (XO (XI (XI (XI (XO (XO
+    XH)))))))))))))))))))))))))))))))) :: ((Npos (XO (XO (XO (XO (XO (XO (XO
+    (XI (XO (XI (XI (XI (XI (XI (XO (XI (XO (XO (XO (XI (XI (XO (XI (XO (XI
+    (XO (XO (XO (XO (XO (XO XH)))))))))))))))))))))))))))))))) :: ((Npos (XO
+    (XO (XI (XI (XI (XO (XO (XO (XI (XO (XO (XI (XO (XO (XI (XI (XO (XO (XO
+    (XO (XO (XO (XO (XO (XI (XO (XO (XO (XI (XI (XO
+    XH)))))))))))))))))))))))))))))))) :: ((Npos (XO (XI (XI (XI (XI (XO (XO
+    (XO (XI (XI (XI (XI (XI (XI (XI (XO (XO (XI (XO (XI (XO (XO (XI (XO (XI
+    (XO (XO (XI (XI XH)))))))))))))))))))))))))))))) :: ((Npos (XO (XI (XO
+    (XO (XO (XI (XO (XI (XO (XI (XI (XI (XO (XI (XI (XO (XI (XI (XO (XI (XI
+    (XI (XI (XO (XO (XO (XO (XO (XO (XO
+    XH))))))))))))))))))))))))))))))) :: ((Npos (XI (XI (XO (XO (XI (XI (XO
+    (XO (XI (XO (XO (XI (XI (XO (XO (XI (XI (XI (XI (XI (XO (XO (XI (XI (XI
+    (XO (XI (XI (XI XH)))))))))))))))))))))))))))))) :: ((Npos (XO (XI (XI
+    (XI (XI (XO (XI (XI (XI (XI (XI (XO (XO (XI (XI (XO (XO (XI (XO (XI (XO
+    (XO (XO (XO (XO (XO (XI (XO (XO (XO (XI
+    XH)))))))))))))))))))))))))))))))) :: ((Npos (XI (XO (XI (XI (XI (XI (XO
+    (XO (XI (XO (XO (XI (XO (XI (XO (XI (XI (XI (XO (XI (XI (XI (XI (XI (XO
+    (XI (XO (XI (XO (XO (XO XH)))))))))))))))))))))))))))))))) :: ((Npos (XI
+    (XI (XO (XO (XO (XI (XI (XO (XI (XO (XI (XI (XI (XI (XI (XI (XI (XO (XO
+    (XO (XO (XO (XO (XO (XI (XO (XI (XO (XO
+    XH)))))))))))))))))))))))))))))) :: ((Npos (XO (XI (XI (XI (XI (XO (XI
+    (XO (XO (XO (XO (XO (XI (XO (XO (XO (XO (XO (XO (XO (XI (XO (XO (XO (XO
+    (XI (XO (XO XH))))))))))))))))))))))))))))) :: ((Npos (XI (XO (XO (XI (XO
+    (XI (XO (XI (XO (XI (XI (XI (XI (XI (XI (XI (XO (XI (XO (XO (XI (XO (XI
+    (XI (XI (XO (XI (XI (XO (XI (XI
+    XH)))))))))))))))))))))))))))))))) :: ((Npos (XO (XO (XO (XI (XI (XO (XO
+    (XO (XI (XO (XI (XO (XO (XO (XI (XI (XI (XO (XI (XO (XO (XI (XO (XO (XI
+    (XO (XI (XI (XI (XO XH))))))))))))))))))))))))))))))) :: ((Npos (XO (XO
+    (XO (XO (XO (XI (XI (XO (XO (XI (XI (XO (XI (XI (XI (XO (XI (XI (XO (XO
+    (XI (XI (XI (XO (XI (XI (XO (XI (XO (XO (XI
+    XH)))))))))))))))))))))))))))))))) :: ((Npos (XI (XO (XO (XI (XI (XO (XO
+    (XO (XI (XI (XO (XI (XI (XI (XO (XI (XI (XI (XO (XO (XO (XO (XI (XI (XO
+    (XI (XO (XI (XI (XI XH))))))))))))))))))))))))))))))) :: ((Npos (XO (XO
+    (XO (XO (XI (XO (XI (XO (XO (XI (XO (XO (XI (XI (XI (XO (XO (XO (XO (XO
+    (XI (XO (XI (XO (XO (XO (XO (XI (XO (XI (XO
+    XH)))))))))))))))))))))))))))))))) :: ((Npos (XI (XO (XI (XO (XO (XI (XI
+    (XI (XI (XO (XO (XO (XO (XO (XO (XI (XI (XO (XI (XO (XI (XI (XO (XO (XO
+    (XO (XO (XI (XO XH)))))))))))))))))))))))))))))) :: ((Npos (XO (XO (XO
+    (XO (XI (XI (XO (XO (XO (XO (XI (XI (XI (XO (XO (XI (XO (XO (XI (XI (XI
+    (XI (XI (XO (XO (XI (XO (XO (XI (XO (XO
+    XH)))))))))))))))))))))))))))))))) :: ((Npos (XO (XO (XI (XI (XI (XO (XO
+    (XO (XI (XI (XI (XO (XI (XO (XI (XO (XO (XI (XI (XI (XI (XI (XI (XI (XO
+    (XI (XO (XO (XI (XI (XI XH)))))))))))))))))))))))))))))))) :: ((Npos (XO
+    (XO (XO (XO (XI (XI (XO (XO (XO (XO (XI (XO (XO (XO (XO (XI (XI (XO (XI
+    (XO (XO (XI (XI (XI (XI (XO (XO (XO (XI (XO (XO
+    XH)))))))))))))))))))))))))))))))) :: ((Npos (XO (XO (XI (XI (XI (XI (XO
+    (XI (XO (XO (XO (XI (XI (XO (XO (XI (XI (XI (XI (XI (XI (XO (XI (XO (XO
+    (XI (XI (XI (XI (XO XH))))))))))))))))))))))))))))))) :: ((Npos (XO (XI
+    (XI (XI (XI (XI (XI (XI (XI (XI (XI (XI (XO (XO (XI (XO (XO (XI (XO (XI
+    (XO (XO (XI (XO (XI (XO (XI (XO (XO
+    XH)))))))))))))))))))))))))))))) :: ((Npos (XI (XI (XI (XO (XI (XI (XI
+    (XI (XI (XO (XO (XO (XO (XI (XO (XO (XO (XO (XO (XI (XI (XO (XI (XO (XI
+    (XI (XI (XO (XI (XI (XO XH)))))))))))))))))))))))))))))))) :: ((Npos (XO
+    (XI (XI (XO (XO (XO (XI (XO (XI (XI (XI (XO (XO (XI (XO (XO (XO (XO (XI
+    (XI (XI (XO (XO (XI (XO (XO (XI (XO
+    XH))))))))))))))))))))))))))))) :: ((Npos (XI (XO (XO (XO (XO (XI (XO (XO
+    (XO (XO (XI (XI (XI (XO (XI (XO (XO (XI (XI (XI (XO (XI (XI (XO (XO (XO
+    (XI (XO (XO (XI XH))))))))))))))))))))))))))))))) :: ((Npos (XI (XO (XO
+    (XO (XO (XO (XI (XI (XI (XO (XO (XO (XI (XI (XI (XI (XI (XI (XI (XO (XO
+    (XI (XI (XO (XO (XO (XI (XO (XI
+    XH)))))))))))))))))))))))))))))) :: ((Npos (XO (XO (XI (XO (XO (XI (XO
+    (XI (XO (XI (XO (XI (XI (XI (XI (XI (XI (XI (XI (XI (XO (XO (XI (XI (XO
+    (XO (XI (XI (XO (XO (XI XH)))))))))))))))))))))))))))))))) :: ((Npos (XI
+    (XI (XO (XO (XO (XO (XI (XI (XI (XI (XO (XI (XO (XO (XO (XO (XO (XO (XI
+    (XI (XI (XI (XO (XI (XO (XI (XO (XI (XI (XO
+    XH))))))))))))))))))))))))))))))) :: ((Npos (XI (XO (XO (XI (XO (XO (XI
+    (XI (XO (XI (XI (XO (XI (XI (XO (XO (XO (XI (XI (XO (XO (XI (XO (XI (XO
+    (XI (XO (XO (XO (XI (XI XH)))))))))))))))))))))))))))))))) :: ((Npos (XO
+    (XO (XO (XO (XI (XO (XO (XI (XO (XI (XI (XI (XO (XO (XO (XO (XI (XO (XO
+    (XI (XO (XO (XI (XI (XO (XI (XI (XO (XI (XO
+    XH))))))))))))))))))))))))))))))) :: ((Npos (XI (XI (XI (XO (XO (XO (XI
+    (XI (XO (XI (XI (XI (XO (XI (XI (XO (XO (XI (XI (XI (XI (XO (XO (XO (XI
+    (XO (XO (XO (XI (XI XH))))))))))))))))))))))))))))))) :: ((Npos (XI (XO
+    (XO (XI (XO (XI (XI (XO (XI (XI (XI (XO (XI (XO (XI (XI (XI (XI (XI (XO
+    (XO (XO (XO (XO (XI (XO (XO (XO (XI (XI (XO
+    XH)))))))))))))))))))))))))))))))) :: ((Npos (XO (XO (XI (XI (XI (XO (XO
+    (XI (XI (XI (XI (XI (XO (XI (XI (XO (XO (XO (XO (XI (XO (XI (XI (XO (XO
+    (XI (XO (XO (XI (XO XH))))))))))))))))))))))))))))))) :: ((Npos (XI (XO
+    (XI (XI (XI (XI (XO (XO (XO (XI (XO (XO (XO (XO (XI (XO (XI (XO (XO (XO
+    (XI (XI (XO (XI (XI (XI (XO (XO (XO (XI (XI
+    XH)))))))))))))))))))))))))))))))) :: ((Npos (XI (XI (XI (XO (XO (XO (XO
+    (XI (XI (XO (XI (XO (XI (XI (XO (XI (XO (XO (XO (XO (XO (XO (XI (XO (XO
+    (XI (XI (XI (XI XH)))))))))))))))))))))))))))))) :: ((Npos (XI (XI (XI
+    (XO (XI (XI (XO (XI (XI (XI (XO (XI (XI (XI (XO (XO (XO (XI (XI (XI (XI
+    (XI (XI (XO (XO (XO (XI (XO (XO
+    XH)))))))))))))))))))))))))))))) :: ((Npos (XI (XI (XO (XI (XI (XI (XO
+    (XI (XI (XI (XI (XO (XO (XI (XO (XI (XI (XI (XO (XI (XI (XO (XO (XO (XI
+    (XI (XI (XO (XO (XO (XI XH)))))))))))))))))))))))))))))))) :: ((Npos (XO
+    (XO (XO (XO (XI (XO (XO (XI (XI (XI (XO (XO (XO (XO (XI (XI (XI (XI (XI
+    (XI (XO (XI (XO (XO (XO (XO (XO (XO (XO (XO (XO
+    XH)))))))))))))))))))))))))))))))) :: ((Npos (XO (XI (XI (XI (XI (XI (XO
+    (XO (XI (XI (XI (XO (XO (XI (XO (XI (XI (XI (XO (XO (XO (XO (XO (XI (XO
+    (XI (XO (XI (XO (XO (XI XH)))))))))))))))))))))))))))))))) :: ((Npos (XO
+    (XO (XO (XI (XI (XI (XO (XO (XO (XI (XO (XI (XI (XO (XI (XO (XI (XO (XO
+    (XO (XO (XO (XO (XO (XI (XO (XI (XO (XI (XO (XI
+    XH)))))))))))))))))))))))))))))))) :: ((Npos (XO (XO (XO (XI (XI (XI (XI
+    (XI (XO (XO (XI (XI (XI (XO (XI (XO (XO (XO (XI (XO (XI (XO (XO (XI (XO
+    (XO (XI (XI (XO (XO (XI
+    XH)))))))))))))))))))))))))))))))) :: [])))))))))))))))))))))))))))))))))))))))))))))))))))))))))))))))))))))))))))))))))))))))))))))))))))))))))))))))))))))))))))))))))))))))))))))))))))))))))))))))))))))))))))))))))))))))))))))))))))))))))))))))))))))))))))))))))))))))))))))))))))))))))))))))
+
+(** val rFC_DEG_F : n list **)
+
+let rFC_DEG_F =
+  N0 :: ((Npos (XI (XI (XO (XI (XI (XI (XI (XO (XO (XO (XI (XO
+    XH))))))))))))) :: ((Npos (XI (XI (XO (XI (XI (XI (XI (XO (XO (XO (XI (XO
+    (XI (XO (XO (XO (XO (XO (XO XH)))))))))))))))))))) :: ((Npos (XO (XI (XI
+    (XO (XO (XI (XO (XO (XI (XI (XI (XI (XI (XI (XO (XI (XO (XI (XO
+    XH)))))))))))))))))))) :: ((Npos (XI (XI (XO (XI (XI (XI (XI (XO (XO (XO
+    (XI (XO (XI (XO (XO (XO (XO (XO (XI XH)))))))))))))))))))) :: ((Npos (XO
+    (XO (XO (XI (XO (XO (XI (XO (XI (XO (XO (XO (XO (XI (XI (XI (XO (XO (XI
+    XH)))))))))))))))))))) :: ((Npos (XI (XO (XO (XO (XI (XO (XI (XI (XI (XO
+    (XO (XI (XO (XI (XI (XO (XI (XO (XI XH)))))))))))))))))))) :: ((Npos (XI
+    (XI (XI (XO (XI (XO (XI (XO (XI (XI (XO (XI (XO (XO (XI (XI (XI (XO (XI
+    XH)))))))))))))))))))) :: ((Npos (XI (XI (XO (XI (XI (XI (XI (XO (XO (XO
+    (XI (XO (XI (XO (XO (XO (XO (XI (XI XH)))))))))))))))))))) :: ((Npos (XI
+    (XI (XI (XI (XI (XO (XI (XO (XI (XO (XI (XI (XO (XO (XI (XO (XO (XI (XI
+    XH)))))))))))))))))))) :: ((Npos (XO (XI (XO (XO (XO (XI (XI (XI (XO (XI
+    (XO (XI (XI (XI (XI (XO (XO (XI (XI XH)))))))))))))))))))) :: ((Npos (XO
+    (XI (XI (XI (XI (XO (XO (XO (XO (XO (XO (XO (XO (XI (XO (XI (XO (XI (XI
+    XH)))))))))))))))))))) :: ((Npos (XO (XI (XI (XO (XO (XI (XO (XO (XI (XI
+    (XI (XI (XI (XI (XO (XI (XO (XI (XI XH)))))))))))))))))))) :: ((Npos (XO
+    (XO (XO (XI (XO (XI (XI (XO (XI (XO (XO (XI (XI (XO (XI (XI (XO (XI (XI
+    XH)))))))))))))))))))) :: ((Npos (XI (XO (XO (XI (XO (XI (XI (XI (XI (XI
+    (XI (XI (XO (XI (XI (XI (XO (XI (XI XH)))))))))))))))))))) :: ((Npos (XO
+    (XI (XO (XI (XO (XI (XI (XO (XI (XI (XO (XO (XO (XO (XO (XO (XI (XI (XI
+    XH)))))))))))))))))))) :: ((Npos (XI (XI (XO (XI (XI (XI (XI (XO (XO (XO
+    (XI (XO (XI (XO (XO (XO (XI (XI (XI XH)))))))))))))))))))) :: ((Npos (XO
+    (XI (XO (XI (XO (XO (XO (XI (XI (XI (XO (XO (XO (XI (XO (XO (XI (XI (XI
+    XH)))))))))))))))))))) :: ((Npos (XI (XO (XI (XI (XO (XI (XI (XI (XO (XO
+    (XO (XO (XI (XI (XO (XO (XI (XI (XI XH)))))))))))))))))))) :: ((Npos (XI
+    (XI (XI (XO (XO (XI (XI (XI (XO (XO (XI (XI (XI (XI (XO (XO (XI (XI (XI
+    XH)))))))))))))))))))) :: ((Npos (XI (XI (XI (XI (XO (XI (XO (XI (XI (XI
+    (XI (XO (XO (XO (XI (XO (XI (XI (XI XH)))))))))))))))))))) :: ((Npos (XI
+    (XI (XI (XI (XO (XI (XI (XO (XI (XO (XO (XO (XI (XO (XI (XO (XI (XI (XI
+    XH)))))))))))))))))))) :: ((Npos (XI (XO (XI (XI (XO (XO (XI (XO (XO (XI
+    (XO (XI (XI (XO (XI (XO (XI (XI (XI XH)))))))))))))))))))) :: ((Npos (XI
+    (XO (XI (XO (XO (XI (XI (XO (XO (XI (XO (XO (XO (XI (XI (XO (XI (XI (XI
+    XH)))))))))))))))))))) :: ((Npos (XI (XO (XO (XO (XI (XO (XI (XI (XI (XO
+    (XO (XI (XO (XI (XI (XO (XI (XI (XI XH)))))))))))))))))))) :: ((Npos (XO
+    (XO (XI (XO (XO (XI (XO (XI (XO (XO (XO (XO (XI (XI (XI (XO (XI (XI (XI
+    XH)))))))))))))))))))) :: ((Npos (XO (XI (XO (XO (XI (XI (XI (XI (XO (XI
+    (XI (XO (XI (XI (XI (XO (XI (XI (XI XH)))))))))))))))))))) :: ((Npos (XI
+    (XI (XI (XO (XO (XO (XI (XI (XO (XO (XI (XI (XI (XI (XI (XO (XI (XI (XI
+    XH)))))))))))))))))))) :: ((Npos (XO (XI (XO (XO (XI (XI (XO (XO (XO (XI
+    (XO (XO (XO (XO (XO (XI (XI (XI (XI XH)))))))))))))))))))) :: ((Npos (XO
+    (XI (XI (XI (XI (XI (XO (XO (XI (XI (XI (XO (XO (XO (XO (XI (XI (XI (XI
+    XH)))))))))))))))))))) :: ((Npos (XO (XO (XO (XO (XO (XO (XO (XO (XO (XO
+    (XO (XO (XO (XO (XO (XO (XO (XO (XO (XO
+    XH))))))))))))))))))))) :: []))))))))))))))))))))))))))))))
+
+(** val rFC_TUPLE_A_BASE : n **)
+
+let rFC_TUPLE_A_BASE =
+  Npos (XI (XI (XI (XO (XI (XO (XI (XO (XI (XO (XO (XO (XI (XO (XI
+    XH)))))))))))))))
+
+(** val rFC_TUPLE_A_MUL : n **)
+
+let rFC_TUPLE_A_MUL =
+  Npos (XI (XO (XI (XO (XO (XI (XI (XI (XI XH)))))))))
+
+(** val rFC_TUPLE_B_MUL : n **)
+
+let rFC_TUPLE_B_MUL =
+  Npos (XI (XI (XO (XI (XI (XO (XO (XO (XO (XO (XO (XI (XO XH)))))))))))))
+
+(** val rfc_v : n list -> n -> n **)
+
+let rfc_v t0 x =
+  nth (N.to_nat x) t0 N0
+
+(** val rand : n -> n -> n -> n **)
+
+let rand y i m =
+  let x0 =
+    N.modulo (N.add y i) (N.pow (Npos (XO XH)) (Npos (XO (XO (XO XH)))))
+  in
+  let x1 =
+    N.modulo
+      (N.add (N.div y (N.pow (Npos (XO XH)) (Npos (XO (XO (XO XH)))))) i)
+      (N.pow (Npos (XO XH)) (Npos (XO (XO (XO XH)))))
+  in
+  let x2 =
+    N.modulo
+      (N.add (N.div y (N.pow (Npos (XO XH)) (Npos (XO (XO (XO (XO XH))))))) i)
+      (N.pow (Npos (XO XH)) (Npos (XO (XO (XO XH)))))
+  in
+  let x3 =
+    N.modulo
+      (N.add (N.div y (N.pow (Npos (XO XH)) (Npos (XO (XO (XO (XI XH))))))) i)
+      (N.pow (Npos (XO XH)) (Npos (XO (XO (XO XH)))))
+  in
+  N.modulo
+    (N.coq_lxor
+      (N.coq_lxor (N.coq_lxor (rfc_v rFC_V0 x0) (rfc_v rFC_V1 x1))
+        (rfc_v rFC_V2 x2)) (rfc_v rFC_V3 x3)) m
+
+(** val rfc_f : n -> n **)
+
+let rfc_f d =
+  nth (N.to_nat d) rFC_DEG_F N0
+
+(** val deg_index : n -> n **)
+
+let deg_index v =
+  match find (fun d ->
+          (&&) (N.leb (rfc_f (N.sub d (Npos XH))) v) (N.ltb v (rfc_f d)))
+          (map N.of_nat
+            (seq (S O) (S (S (S (S (S (S (S (S (S (S (S (S (S (S (S (S (S (S
+              (S (S (S (S (S (S (S (S (S (S (S (S
+              O)))))))))))))))))))))))))))))))) with
+  | Some d -> d
+  | None -> N0
+
+(** val deg : n -> n -> n **)
+
+let deg v w =
+  N.min (deg_index v) (N.sub w (Npos (XO XH)))
+
+(** val tuple_A : n -> n **)
+
+let tuple_A j =
+  let a = N.add rFC_TUPLE_A_BASE (N.mul j rFC_TUPLE_A_MUL) in
+  if N.eqb (N.modulo a (Npos (XO XH))) N0 then N.add a (Npos XH) else a
+
+(** val tuple_B : n -> n **)
+
+let tuple_B j =
+  N.mul rFC_TUPLE_B_MUL (N.add j (Npos XH))
+
+(** val tuple_y : n -> n -> n **)
+
+let tuple_y j x =
+  N.modulo (N.add (tuple_B j) (N.mul x (tuple_A j)))
+    (N.pow (Npos (XO XH)) (Npos (XO (XO (XO (XO (XO XH)))))))
+
+(** val tuple : n -> n -> n -> n -> ((((n * n) * n) * n) * n) * n **)
+
+let tuple j w p1 x =
+  let y = tuple_y j x in
+  let v = rand y N0 (N.pow (Npos (XO XH)) (Npos (XO (XO (XI (XO XH)))))) in
+  let d = deg v w in
+  let a = N.add (Npos XH) (rand y (Npos XH) (N.sub w (Npos XH))) in
+  let b = rand y (Npos (XO XH)) w in
+  let d1 =
+    if N.ltb d (Npos (XO (XO XH)))
+    then N.add (Npos (XO XH)) (rand x (Npos (XI XH)) (Npos (XO XH)))
+    else Npos (XO XH)
+  in
+  let a1 = N.add (Npos XH) (rand x (Npos (XO (XO XH))) (N.sub p1 (Npos XH)))
+  in
+  let b1 = rand x (Npos (XI (XO XH))) p1 in (((((d, a), b), d1), a1), b1)
+
+type cparams = { cK : n; cJ : n; cS : n; cH : n; cW : n; cP1 : n }
+
+(** val cL : cparams -> n **)
+
+let cL p =
+  N.add (N.add p.cK p.cS) p.cH
+
+(** val cP : cparams -> n **)
+
+let cP p =
+  N.sub (cL p) p.cW
+
+(** val cB : cparams -> n **)
+
+let cB p =
+  N.sub p.cW p.cS
+
+(** val b2n : bool -> n **)
+
+let b2n = function
+| true -> Npos XH
+| false -> N0
+
+(** val parity : n -> n **)
+
+let parity n0 =
+  N.modulo n0 (Npos (XO XH))
+
+(** val ldpc_count : cparams -> n -> n -> n **)
+
+let ldpc_count p r j =
+  let s = p.cS in
+  let b = cB p in
+  let w = p.cW in
+  let p0 = cP p in
+  if N.ltb j b
+  then let a = N.add (Npos XH) (N.div j s) in
+       let b0 = N.modulo j s in
+       let b1 = N.modulo (N.add b0 a) s in
+       let b2 = N.modulo (N.add b1 a) s in
+       N.add (N.add (b2n (N.eqb b0 r)) (b2n (N.eqb b1 r))) (b2n (N.eqb b2 r))
+  else if N.ltb j w
+       then b2n (N.eqb (N.sub j b) r)
+       else N.add (b2n (N.eqb (N.modulo r p0) (N.sub j w)))
+              (b2n (N.eqb (N.modulo (N.add r (Npos XH)) p0) (N.sub j w)))
+
+(** val ldpc_entry : cparams -> n -> n -> n **)
+
+let ldpc_entry p r j =
+  parity (ldpc_count p r j)
+
+(** val alpha_pow : n -> n **)
+
+let alpha_pow i =
+  ppow2 (N.to_nat i)
+
+(** val mT : cparams -> n -> n -> n **)
+
+let mT p i k =
+  let h = p.cH in
+  let n0 = N.add p.cK p.cS in
+  if N.ltb (N.add k (Npos XH)) n0
+  then let r6 = rand (N.add k (Npos XH)) (Npos (XO (XI XH))) h in
+       let r7 =
+         rand (N.add k (Npos XH)) (Npos (XI (XI XH))) (N.sub h (Npos XH))
+       in
+       if (||) (N.eqb i r6)
+            (N.eqb i (N.modulo (N.add (N.add r6 r7) (Npos XH)) h))
+       then Npos XH
+       else N0
+  else alpha_pow i
+
+(** val gAMMA : n -> n -> n **)
+
+let gAMMA k j =
+  if N.leb j k then alpha_pow (N.sub k j) else N0
+
+(** val g_HDPC : cparams -> n -> n -> n **)
+
+let g_HDPC p i j =
+  let n0 = N.to_nat (N.add p.cK p.cS) in
+  xsum (map (fun k -> pmul (mT p i k) (gAMMA k j)) (rangeN n0))
+
+(** val hdpc_entry : cparams -> n -> n -> n **)
+
+let hdpc_entry p i j =
+  let n0 = N.add p.cK p.cS in
+  if N.ltb j n0 then g_HDPC p i j else b2n (N.eqb (N.sub j n0) i)
+
+(** val enc_lt : nat -> n -> n -> n -> n list **)
+
+let rec enc_lt n0 a w b =
+  match n0 with
+  | O -> []
+  | S n' -> let b' = N.modulo (N.add b a) w in b' :: (enc_lt n' a w b')
+
+(** val enc_skip : nat -> n -> n -> n -> n -> n **)
+
+let rec enc_skip fuel a1 p p1 b1 =
+  match fuel with
+  | O -> b1
+  | S f ->
+    if N.leb p b1 then enc_skip f a1 p p1 (N.modulo (N.add b1 a1) p1) else b1
+
+(** val enc_pi : nat -> nat -> n -> n -> n -> n -> n -> n list **)
+
+let rec enc_pi fuel n0 a1 w p p1 b1 =
+  match n0 with
+  | O -> []
+  | S n' ->
+    let b1' = enc_skip fuel a1 p p1 (N.modulo (N.add b1 a1) p1) in
+    (N.add w b1') :: (enc_pi fuel n' a1 w p p1 b1')
+
+(** val enc_indices : cparams -> (((((n * n) * n) * n) * n) * n) -> n list **)
+
+let enc_indices p = function
+| (p0, b1) ->
+  let (p1, a1) = p0 in
+  let (p2, d1) = p1 in
+  let (p3, b) = p2 in
+  let (d, a) = p3 in
+  let w = p.cW in
+  let p4 = cP p in
+  let p5 = p.cP1 in
+  let fuel = N.to_nat p5 in
+  let b1' = enc_skip fuel a1 p4 p5 b1 in
+  b :: (app (enc_lt (N.to_nat (N.sub d (Npos XH))) a w b)
+         ((N.add w b1') :: (enc_pi fuel (N.to_nat (N.sub d1 (Npos XH))) a1 w
+                             p4 p5 b1')))
+
+(** val tuple_of : cparams -> n -> ((((n * n) * n) * n) * n) * n **)
+
+let tuple_of p x =
+  tuple p.cJ p.cW p.cP1 x
+
+(** val count_occ_N : n list -> n -> n **)
+
+let count_occ_N l j =
+  fold_left (fun acc x -> if N.eqb x j then N.add acc (Npos XH) else acc) l N0
+
+(** val enc_entry : cparams -> n -> n -> n **)
+
+let enc_entry p x j =
+  parity (count_occ_N (enc_indices p (tuple_of p x)) j)
+
+(** val a_entry : cparams -> n list -> n -> n -> n **)
+
+let a_entry p isis r j =
+  let s = p.cS in
+  let h = p.cH in
+  if N.ltb r s
+  then ldpc_entry p r j
+  else if N.ltb r (N.add s h)
+       then hdpc_entry p (N.sub r s) j
+       else enc_entry p (nth (N.to_nat (N.sub (N.sub r s) h)) isis N0) j
+
+(** val a_rfc : cparams -> n list -> n list list **)
+
+let a_rfc p isis =
+  let l = N.to_nat (cL p) in
+  map (fun r -> map (fun j -> a_entry p isis r j) (rangeN l))
+    (rangeN (add (N.to_nat (N.add p.cS p.cH)) (length isis)))
+
+(** val vxor : n list -> n list -> n list **)
+
+let rec vxor u v =
+  match u with
+  | [] -> []
+  | x :: u' ->
+    (match v with
+     | [] -> []
+     | y :: v' -> (N.coq_lxor x y) :: (vxor u' v'))
+
+(** val enc :
+    cparams -> nat -> n list list -> (((((n * n) * n) * n) * n) * n) -> n list **)
+
+let enc p t0 c t1 =
+  fold_left (fun acc i -> vxor acc (nth (N.to_nat i) c (repeat N0 t0)))
+    (enc_indices p t1) (repeat N0 t0)
+
+module PositiveMap =
+ struct
+  type key = positive
+
+  type 'a tree =
+  | Leaf
+  | Node of 'a tree * 'a option * 'a tree
+
+  type 'a t = 'a tree
+
+  (** val empty : 'a1 t **)
+
+  let empty =
+    Leaf
+
+  (** val find : key -> 'a1 t -> 'a1 option **)
+
+  let rec find i = function
+  | Leaf -> None
+  | Node (l, o, r) ->
+    (match i with
+     | XI ii -> find ii r
+     | XO ii -> find ii l
+     | XH -> o)
+
+  (** val add : key -> 'a1 -> 'a1 t -> 'a1 t **)
+
+  let rec add i v = function
+  | Leaf ->
+    (match i with
+     | XI ii -> Node (Leaf, None, (add ii v Leaf))
+     | XO ii -> Node ((add ii v Leaf), None, Leaf)
+     | XH -> Node (Leaf, (Some v), Leaf))
+  | Node (l, o, r) ->
+    (match i with
+     | XI ii -> Node (l, o, (add ii v r))
+     | XO ii -> Node ((add ii v l), o, r)
+     | XH -> Node (l, (Some v), r))
+ end
+
+(** val fmul_key : n -> n -> positive **)
+
+let fmul_key a b =
+  N.succ_pos
+    (N.add (N.mul a (Npos (XO (XO (XO (XO (XO (XO (XO (XO XH)))))))))) b)
+
+(** val fmul_table : n PositiveMap.t **)
+
+let fmul_table =
+  fold_left (fun m a ->
+    fold_left (fun m0 b -> PositiveMap.add (fmul_key a b) (mulN a b) m0)
+      (rangeN (S (S (S (S (S (S (S (S (S (S (S (S (S (S (S (S (S (S (S (S (S
+        (S (S (S (S (S (S (S (S (S (S (S (S (S (S (S (S (S (S (S (S (S (S (S
+        (S (S (S (S (S (S (S (S (S (S (S (S (S (S (S (S (S (S (S (S (S (S (S
+        (S (S (S (S (S (S (S (S (S (S (S (S (S (S (S (S (S (S (S (S (S (S (S
+        (S (S (S (S (S (S (S (S (S (S (S (S (S (S (S (S (S (S (S (S (S (S (S
+        (S (S (S (S (S (S (S (S (S (S (S (S (S (S (S (S (S (S (S (S (S (S (S
+        (S (S (S (S (S (S (S (S (S (S (S (S (S (S (S (S (S (S (S (S (S (S (S
+        (S (S (S (S (S (S (S (S (S (S (S (S (S (S (S (S (S (S (S (S (S (S (S
+        (S (S (S (S (S (S (S (S (S (S (S (S (S (S (S (S (S (S (S (S (S (S (S
+        (S (S (S (S (S (S (S (S (S (S (S (S (S (S (S (S (S (S (S (S (S (S (S
+        (S (S (S (S (S (S (S (S (S (S (S (S (S (S (S (S (S (S (S (S (S (S (S
+        (S (S (S (S (S
+        O)))))))))))))))))))))))))))))))))))))))))))))))))))))))))))))))))))))))))))))))))))))))))))))))))))))))))))))))))))))))))))))))))))))))))))))))))))))))))))))))))))))))))))))))))))))))))))))))))))))))))))))))))))))))))))))))))))))))))))))))))))))))))))))))))
+      m)
+    (rangeN (S (S (S (S (S (S (S (S (S (S (S (S (S (S (S (S (S (S (S (S (S (S
+      (S (S (S (S (S (S (S (S (S (S (S (S (S (S (S (S (S (S (S (S (S (S (S (S
+      (S (S (S (S (S (S (S (S (S (S (S (S (S (S (S (S (S (S (S (S (S (S (S (S
+      (S (S (S (S (S (S (S (S (S (S (S (S (S (S (S (S (S (S (S (S (S (S (S (S
+      (S (S (S (S (S (S (S (S (S (S (S (S (S (S (S (S (S (S (S (S (S (S (S (S
+      (S (S (S (S (S (S (S (S (S (S (S (S (S (S (S (S (S (S (S (S (S (S (S (S
+      (S (S (S (S (S (S (S (S (S (S (S (S (S (S (S (S (S (S (S (S (S (S (S (S
+      (S (S (S (S (S (S (S (S (S (S (S (S (S (S (S (S (S (S (S (S (S (S (S (S
+      (S (S (S (S (S (S (S (S (S (S (S (S (S (S (S (S (S (S (S (S (S (S (S (S
+      (S (S (S (S (S (S (S (S (S (S (S (S (S (S (S (S (S (S (S (S (S (S (S (S
+      (S (S (S (S (S (S (S (S (S (S (S (S (S (S (S (S (S (S
+      O)))))))))))))))))))))))))))))))))))))))))))))))))))))))))))))))))))))))))))))))))))))))))))))))))))))))))))))))))))))))))))))))))))))))))))))))))))))))))))))))))))))))))))))))))))))))))))))))))))))))))))))))))))))))))))))))))))))))))))))))))))))))))))))))))
+    PositiveMap.empty
+
+(** val fmul : n -> n -> n **)
+
+let fmul a b =
+  match PositiveMap.find (fmul_key a b) fmul_table with
+  | Some v -> v
+  | None -> N0
+
+(** val finv_table : n PositiveMap.t **)
+
+let finv_table =
+  fold_left (fun m a -> PositiveMap.add (N.succ_pos a) (divN (Npos XH) a) m)
+    (rangeN (S (S (S (S (S (S (S (S (S (S (S (S (S (S (S (S (S (S (S (S (S (S
+      (S (S (S (S (S (S (S (S (S (S (S (S (S (S (S (S (S (S (S (S (S (S (S (S
+      (S (S (S (S (S (S (S (S (S (S (S (S (S (S (S (S (S (S (S (S (S (S (S (S
+      (S (S (S (S (S (S (S (S (S (S (S (S (S (S (S (S (S (S (S (S (S (S (S (S
+      (S (S (S (S (S (S (S (S (S (S (S (S (S (S (S (S (S (S (S (S (S (S (S (S
+      (S (S (S (S (S (S (S (S (S (S (S (S (S (S (S (S (S (S (S (S (S (S (S (S
+      (S (S (S (S (S (S (S (S (S (S (S (S (S (S (S (S (S (S (S (S (S (S (S (S
+      (S (S (S (S (S (S (S (S (S (S (S (S (S (S (S (S (S (S (S (S (S (S (S (S
+      (S (S (S (S (S (S (S (S (S (S (S (S (S (S (S (S (S (S (S (S (S (S (S (S
+      (S (S (S (S (S (S (S (S (S (S (S (S (S (S (S (S (S (S (S (S (S (S (S (S
+      (S (S (S (S (S (S (S (S (S (S (S (S (S (S (S (S (S (S
+      O)))))))))))))))))))))))))))))))))))))))))))))))))))))))))))))))))))))))))))))))))))))))))))))))))))))))))))))))))))))))))))))))))))))))))))))))))))))))))))))))))))))))))))))))))))))))))))))))))))))))))))))))))))))))))))))))))))))))))))))))))))))))))))))))))
+    PositiveMap.empty
+
+(** val finv : n -> n **)
+
+let finv a =
+  match PositiveMap.find (N.succ_pos a) finv_table with
+  | Some v -> v
+  | None -> N0
+
+(** val tABLE2 : ((((n * n) * n) * n) * n) list **)
+
+let tABLE2 =
+  (((((Npos (XO (XI (XO XH)))), (Npos (XO (XI (XI (XI (XI (XI (XI
+    XH))))))))), (Npos (XI (XI XH)))), (Npos (XO (XI (XO XH))))), (Npos (XI
+    (XO (XO (XO XH)))))) :: ((((((Npos (XO (XO (XI XH)))), (Npos (XO (XI (XI
+    (XO (XI (XI (XI (XO (XO XH))))))))))), (Npos (XI (XI XH)))), (Npos (XO
+    (XI (XO XH))))), (Npos (XI (XI (XO (XO XH)))))) :: ((((((Npos (XO (XI (XO
+    (XO XH))))), (Npos (XO (XI (XO (XI (XO (XI (XO (XI (XO XH))))))))))),
+    (Npos (XI (XI (XO XH))))), (Npos (XO (XI (XO XH))))), (Npos (XI (XO (XI
+    (XI XH)))))) :: ((((((Npos (XO (XO (XI (XO XH))))), (Npos (XI (XO (XI (XO
+    (XO (XI (XO (XO XH)))))))))), (Npos (XI (XI (XO XH))))), (Npos (XO (XI
+    (XO XH))))), (Npos (XI (XI (XI (XI XH)))))) :: ((((((Npos (XO (XI (XO (XI
+    XH))))), (Npos (XO (XO (XO (XO (XI (XO XH)))))))), (Npos (XI (XI (XO
+    XH))))), (Npos (XO (XI (XO XH))))), (Npos (XI (XO (XI (XO (XO
+    XH))))))) :: ((((((Npos (XO (XI (XI (XI XH))))), (Npos (XO (XI (XI (XO
+    (XI (XI (XO (XO (XO XH))))))))))), (Npos (XI (XI (XO XH))))), (Npos (XO
+    (XI (XO XH))))), (Npos (XI (XO (XO (XI (XO XH))))))) :: ((((((Npos (XO
+    (XO (XO (XO (XO XH)))))), (Npos (XO (XO (XI (XI (XI (XO (XI (XO (XI
+    XH))))))))))), (Npos (XI (XI (XO XH))))), (Npos (XO (XI (XO XH))))),
+    (Npos (XI (XI (XO (XI (XO XH))))))) :: ((((((Npos (XO (XO (XI (XO (XO
+    XH)))))), (Npos (XI (XI (XO (XI (XO (XO (XO (XO XH)))))))))), (Npos (XI
+    (XI (XO XH))))), (Npos (XO (XI (XO XH))))), (Npos (XI (XI (XI (XI (XO
+    XH))))))) :: ((((((Npos (XO (XI (XO (XI (XO XH)))))), (Npos (XO (XI (XI
+    (XO (XI (XI (XO (XO (XI XH))))))))))), (Npos (XI (XI (XO XH))))), (Npos
+    (XO (XI (XO XH))))), (Npos (XI (XO (XI (XO (XI XH))))))) :: ((((((Npos
+    (XO (XI (XI (XI (XO XH)))))), (Npos (XO (XI (XO (XI (XI (XI (XI (XI
+    XH)))))))))), (Npos (XI (XO (XI XH))))), (Npos (XO (XI (XO XH))))), (Npos
+    (XI (XI (XO (XI (XI XH))))))) :: ((((((Npos (XO (XO (XO (XO (XI XH)))))),
+    (Npos (XI (XO (XI (XI (XO (XO (XI (XO (XO XH))))))))))), (Npos (XI (XO
+    (XI XH))))), (Npos (XO (XI (XO XH))))), (Npos (XI (XO (XI (XI (XI
+    XH))))))) :: ((((((Npos (XI (XO (XO (XO (XI XH)))))), (Npos (XI (XI (XI
+    (XO (XI (XO XH)))))))), (Npos (XI (XO (XI XH))))), (Npos (XO (XI (XO
+    XH))))), (Npos (XI (XO (XI (XI (XI XH))))))) :: ((((((Npos (XI (XI (XI
+    (XO (XI XH)))))), (Npos (XO (XO (XO (XI (XO (XO (XO (XO (XO
+    XH))))))))))), (Npos (XI (XO (XI XH))))), (Npos (XO (XI (XO XH))))),
+    (Npos (XI (XI (XO (XO (XO (XO XH)))))))) :: ((((((Npos (XO (XO (XI (XI
+    (XI XH)))))), (Npos (XI (XI (XI (XI (XI (XO (XO XH))))))))), (Npos (XI
+    (XO (XI XH))))), (Npos (XO (XI (XO XH))))), (Npos (XI (XI (XI (XO (XO (XO
+    XH)))))))) :: ((((((Npos (XO (XI (XI (XI (XI XH)))))), (Npos (XI (XI (XO
+    (XI (XO (XI (XI XH))))))))), (Npos (XI (XO (XI XH))))), (Npos (XO (XI (XO
+    XH))))), (Npos (XI (XO (XO (XI (XO (XO XH)))))))) :: ((((((Npos (XI (XO
+    (XI (XO (XO (XO XH))))))), (Npos (XI (XO (XI (XI (XI (XO (XO XH))))))))),
+    (Npos (XI (XO (XI XH))))), (Npos (XO (XI (XO XH))))), (Npos (XI (XI (XI
+    (XI (XO (XO XH)))))))) :: ((((((Npos (XI (XI (XO (XI (XO (XO XH))))))),
+    (Npos (XO (XI (XI (XO (XI (XI (XI (XI XH)))))))))), (Npos (XI (XO (XO (XO
+    XH)))))), (Npos (XO (XI (XO XH))))), (Npos (XI (XO (XO (XI (XI (XO
+    XH)))))))) :: ((((((Npos (XO (XO (XI (XO (XI (XO XH))))))), (Npos (XO (XI
+    (XI (XI (XO (XO (XI (XO XH)))))))))), (Npos (XI (XO (XO (XO XH)))))),
+    (Npos (XO (XI (XO XH))))), (Npos (XI (XO (XO (XO (XO (XI
+    XH)))))))) :: ((((((Npos (XO (XO (XO (XI (XI (XO XH))))))), (Npos (XI (XI
+    (XI (XO (XO (XO (XI (XO (XO XH))))))))))), (Npos (XI (XO (XO (XO
+    XH)))))), (Npos (XO (XI (XO XH))))), (Npos (XI (XO (XI (XO (XO (XI
+    XH)))))))) :: ((((((Npos (XI (XI (XO (XI (XI (XO XH))))))), (Npos (XO (XI
+    (XO (XO (XO (XO XH)))))))), (Npos (XI (XO (XO (XO XH)))))), (Npos (XO (XI
+    (XO XH))))), (Npos (XI (XI (XI (XO (XO (XI XH)))))))) :: ((((((Npos (XI
+    (XI (XI (XI (XI (XO XH))))))), (Npos (XO (XO (XO (XO (XO (XI (XI (XO
+    XH)))))))))), (Npos (XI (XO (XO (XO XH)))))), (Npos (XO (XI (XO XH))))),
+    (Npos (XI (XI (XO (XI (XO (XI XH)))))))) :: ((((((Npos (XI (XO (XO (XO
+    (XO (XI XH))))))), (Npos (XI (XO (XI (XI (XO (XI (XI (XO XH)))))))))),
+    (Npos (XI (XO (XO (XO XH)))))), (Npos (XO (XI (XO XH))))), (Npos (XI (XO
+    (XI (XI (XO (XI XH)))))))) :: ((((((Npos (XI (XO (XI (XO (XO (XI
+    XH))))))), (Npos (XO (XI (XO (XO (XI (XI (XO (XO (XO XH))))))))))), (Npos
+    (XI (XO (XO (XO XH)))))), (Npos (XO (XI (XO XH))))), (Npos (XI (XO (XO
+    (XO (XI (XI XH)))))))) :: ((((((Npos (XO (XI (XO (XO (XI (XI XH))))))),
+    (Npos (XI (XO XH)))), (Npos (XI (XI (XO (XO XH)))))), (Npos (XO (XI (XO
+    XH))))), (Npos (XI (XI (XI (XI (XI (XI XH)))))))) :: ((((((Npos (XI (XI
+    (XI (XO (XI (XI XH))))))), (Npos (XI (XI (XO (XI (XI (XO (XI (XO (XO
+    XH))))))))))), (Npos (XI (XI (XO (XO XH)))))), (Npos (XO (XI (XO XH))))),
+    (Npos (XI (XI (XO (XO (XO (XO (XO XH))))))))) :: ((((((Npos (XI (XO (XI
+    (XI (XI (XI XH))))))), (Npos (XI (XO (XO (XO (XI (XO (XI (XI (XO
+    XH))))))))))), (Npos (XI (XI (XO (XO XH)))))), (Npos (XO (XI (XO XH))))),
+    (Npos (XI (XO (XO (XI (XO (XO (XO XH))))))))) :: ((((((Npos (XI (XI (XI
+    (XI (XI (XI XH))))))), (Npos (XO (XO (XI (XI XH)))))), (Npos (XI (XI (XO
+    (XO XH)))))), (Npos (XO (XI (XO XH))))), (Npos (XI (XI (XO (XI (XO (XO
+    (XO XH))))))))) :: ((((((Npos (XO (XI (XO (XI (XO (XO (XO XH)))))))),
+    (Npos (XO (XO (XI (XO (XI (XO (XO (XI (XO XH))))))))))), (Npos (XI (XI
+    (XO (XO XH)))))), (Npos (XO (XI (XO XH))))), (Npos (XI (XO (XI (XO (XI
+    (XO (XO XH))))))))) :: ((((((Npos (XO (XO (XI (XI (XO (XO (XO XH)))))))),
+    (Npos (XI (XO (XI (XI (XI (XI (XO (XO (XI XH))))))))))), (Npos (XI (XI
+    (XO (XO XH)))))), (Npos (XO (XI (XO XH))))), (Npos (XI (XI (XI (XO (XI
+    (XO (XO XH))))))))) :: ((((((Npos (XI (XO (XI (XO (XI (XO (XO XH)))))))),
+    (Npos (XO (XO (XI (XO (XO (XO (XO (XI (XI XH))))))))))), (Npos (XI (XI
+    (XI (XO XH)))))), (Npos (XO (XI (XO XH))))), (Npos (XI (XI (XO (XO (XO
+    (XI (XO XH))))))))) :: ((((((Npos (XI (XO (XO (XI (XI (XO (XO XH)))))))),
+    (Npos (XO (XI (XO (XO (XO (XI (XO (XI (XI XH))))))))))), (Npos (XI (XI
+    (XI (XO XH)))))), (Npos (XO (XI (XO XH))))), (Npos (XI (XI (XI (XO (XO
+    (XI (XO XH))))))))) :: ((((((Npos (XO (XO (XO (XO (XO (XI (XO XH)))))))),
+    (Npos (XO (XI (XI (XI (XO (XI (XO (XO (XI XH))))))))))), (Npos (XI (XI
+    (XI (XO XH)))))), (Npos (XO (XI (XO XH))))), (Npos (XI (XO (XI (XI (XO
+    (XI (XO XH))))))))) :: ((((((Npos (XO (XI (XI (XO (XO (XI (XO XH)))))))),
+    (Npos (XI (XO (XI (XO (XI (XO (XO (XI (XO XH))))))))))), (Npos (XI (XI
+    (XI (XO XH)))))), (Npos (XO (XI (XO XH))))), (Npos (XI (XI (XO (XO (XI
+    (XI (XO XH))))))))) :: ((((((Npos (XO (XO (XO (XI (XO (XI (XO XH)))))))),
+    (Npos (XI (XO (XI (XO (XI (XI (XO (XI (XO XH))))))))))), (Npos (XI (XI
+    (XI (XO XH)))))), (Npos (XO (XI (XO XH))))), (Npos (XI (XO (XI (XO (XI
+    (XI (XO XH))))))))) :: ((((((Npos (XI (XI (XO (XO (XI (XI (XO XH)))))))),
+    (Npos (XO (XO (XI (XI (XO (XO (XO (XO (XI XH))))))))))), (Npos (XI (XI
+    (XI (XO XH)))))), (Npos (XO (XI (XO XH))))), (Npos (XI (XI (XI (XI (XI
+    (XI (XO XH))))))))) :: ((((((Npos (XI (XO (XI (XO (XI (XI (XO XH)))))))),
+    (Npos (XI (XO (XI (XI (XI (XO (XI (XO (XO XH))))))))))), (Npos (XI (XI
+    (XI (XO XH)))))), (Npos (XO (XI (XO XH))))), (Npos (XI (XO (XO (XO (XO
+    (XO (XI XH))))))))) :: ((((((Npos (XI (XO (XO (XI (XI (XI (XO XH)))))))),
+    (Npos (XI (XI (XI (XO (XO (XI (XO (XO (XO XH))))))))))), (Npos (XI (XI
+    (XI (XO XH)))))), (Npos (XO (XI (XO XH))))), (Npos (XI (XO (XI (XO (XO
+    (XO (XI XH))))))))) :: ((((((Npos (XI (XI (XO (XI (XI (XI (XO XH)))))))),
+    (Npos (XI (XO (XO (XI (XO (XO (XO (XO (XI XH))))))))))), (Npos (XI (XI
+    (XI (XO XH)))))), (Npos (XO (XI (XO XH))))), (Npos (XI (XI (XI (XO (XO
+    (XO (XI XH))))))))) :: ((((((Npos (XO (XO (XO (XI (XO (XO (XI XH)))))))),
+    (Npos (XI (XI (XO (XI (XO (XI (XI (XI XH)))))))))), (Npos (XI (XI (XI (XO
+    XH)))))), (Npos (XO (XI (XO XH))))), (Npos (XI (XI (XO (XO (XI (XO (XI
+    XH))))))))) :: ((((((Npos (XI (XO (XI (XO (XI (XO (XI XH)))))))), (Npos
+    (XO (XO (XI (XI (XO (XO (XO (XI XH)))))))))), (Npos (XI (XI (XI (XO
+    XH)))))), (Npos (XO (XI (XO XH))))), (Npos (XI (XI (XI (XI (XI (XO (XI
+    XH))))))))) :: ((((((Npos (XI (XO (XO (XI (XI (XO (XI XH)))))))), (Npos
+    (XO (XO (XI (XI (XI (XI (XI (XI (XO XH))))))))))), (Npos (XI (XO (XI (XI
+    XH)))))), (Npos (XO (XI (XO XH))))), (Npos (XI (XO (XO (XI (XO (XI (XI
+    XH))))))))) :: ((((((Npos (XI (XO (XO (XO (XO (XI (XI XH)))))))), (Npos
+    (XI (XI (XO (XI (XO (XO (XI (XO (XI XH))))))))))), (Npos (XI (XO (XI (XI
+    XH)))))), (Npos (XO (XI (XO XH))))), (Npos (XI (XO (XO (XO (XI (XI (XI
+    XH))))))))) :: ((((((Npos (XO (XO (XI (XI (XO (XI (XI XH)))))))), (Npos
+    (XO (XI (XI (XO (XO (XO (XO (XI (XO XH))))))))))), (Npos (XI (XO (XI (XI
+    XH)))))), (Npos (XO (XI (XO XH))))), (Npos (XI (XI (XO (XI (XI (XI (XI
+    XH))))))))) :: ((((((Npos (XO (XI (XO (XO (XI (XI (XI XH)))))))), (Npos
+    (XI (XO (XI (XI (XO (XI (XO (XO (XO XH))))))))))), (Npos (XI (XO (XI (XI
+    XH)))))), (Npos (XO (XI (XO XH))))), (Npos (XI (XO (XO (XO (XO (XO (XO
+    (XO XH)))))))))) :: ((((((Npos (XO (XO (XO (XI (XI (XI (XI XH)))))))),
+    (Npos (XO (XO (XO (XO (XO (XI (XI (XO (XO XH))))))))))), (Npos (XI (XO
+    (XI (XI XH)))))), (Npos (XO (XI (XO XH))))), (Npos (XI (XI (XI (XO (XO
+    (XO (XO (XO XH)))))))))) :: ((((((Npos (XI (XO (XO (XO (XO (XO (XO (XO
+    XH))))))))), (Npos (XI (XO (XO (XI (XO (XO (XO (XO XH)))))))))), (Npos
+    (XI (XO (XI (XI XH)))))), (Npos (XO (XI (XO XH))))), (Npos (XI (XI (XI
+    (XI (XO (XO (XO (XO XH)))))))))) :: ((((((Npos (XI (XI (XI (XO (XO (XO
+    (XO (XO XH))))))))), (Npos (XI (XO (XO (XI (XI (XI (XI (XI XH)))))))))),
+    (Npos (XI (XO (XI (XI XH)))))), (Npos (XO (XI (XO XH))))), (Npos (XI (XO
+    (XI (XO (XI (XO (XO (XO XH)))))))))) :: ((((((Npos (XI (XO (XI (XI (XO
+    (XO (XO (XO XH))))))))), (Npos (XO (XI (XO (XO (XI (XO (XI (XI (XO
+    XH))))))))))), (Npos (XI (XO (XI (XI XH)))))), (Npos (XO (XI (XO XH))))),
+    (Npos (XI (XI (XO (XI (XI (XO (XO (XO XH)))))))))) :: ((((((Npos (XO (XO
+    (XO (XI (XI (XO (XO (XO XH))))))))), (Npos (XI (XI (XI (XO (XO (XO (XO
+    (XO XH)))))))))), (Npos (XI (XO (XI (XI XH)))))), (Npos (XO (XI (XO
+    XH))))), (Npos (XI (XO (XI (XO (XO (XI (XO (XO XH)))))))))) :: ((((((Npos
+    (XI (XI (XI (XO (XO (XI (XO (XO XH))))))))), (Npos (XI (XI (XI (XO (XO
+    (XI (XI (XI (XI XH))))))))))), (Npos (XI (XO (XI (XI XH)))))), (Npos (XO
+    (XI (XO XH))))), (Npos (XI (XI (XO (XO (XI (XI (XO (XO
+    XH)))))))))) :: ((((((Npos (XI (XO (XI (XI (XO (XI (XO (XO XH))))))))),
+    (Npos (XO (XI (XO (XI (XO (XI (XI (XO (XI XH))))))))))), (Npos (XI (XO
+    (XI (XI XH)))))), (Npos (XO (XI (XO XH))))), (Npos (XI (XO (XO (XI (XI
+    (XI (XO (XO XH)))))))))) :: ((((((Npos (XI (XO (XO (XO (XI (XI (XO (XO
+    XH))))))))), (Npos (XO (XO (XO (XO (XO (XI (XO XH))))))))), (Npos (XI (XO
+    (XI (XI XH)))))), (Npos (XO (XI (XO XH))))), (Npos (XI (XO (XI (XI (XI
+    (XI (XO (XO XH)))))))))) :: ((((((Npos (XO (XO (XI (XO (XO (XO (XI (XO
+    XH))))))))), (Npos (XI (XI (XI (XI (XI (XI (XO (XO (XO XH))))))))))),
+    (Npos (XI (XI (XI (XI XH)))))), (Npos (XO (XI (XO XH))))), (Npos (XI (XO
+    (XO (XO (XI (XO (XI (XO XH)))))))))) :: ((((((Npos (XI (XO (XO (XO (XI
+    (XO (XI (XO XH))))))))), (Npos (XO (XI (XO (XO (XI (XO (XI XH))))))))),
+    (Npos (XI (XI (XI (XI XH)))))), (Npos (XO (XI (XO XH))))), (Npos (XI (XO
+    (XI (XI (XI (XO (XI (XO XH)))))))))) :: ((((((Npos (XI (XO (XI (XO (XI
+    (XO (XI (XO XH))))))))), (Npos (XI (XO (XO (XO (XO (XO (XO (XO (XO
+    XH))))))))))), (Npos (XI (XI (XI (XI XH)))))), (Npos (XO (XI (XO XH))))),
+    (Npos (XI (XO (XO (XO (XO (XI (XI (XO XH)))))))))) :: ((((((Npos (XI (XI
+    (XO (XI (XI (XO (XI (XO XH))))))))), (Npos (XI (XI (XI (XO (XI (XI (XI
+    (XI XH)))))))))), (Npos (XI (XI (XI (XI XH)))))), (Npos (XO (XI (XO
+    XH))))), (Npos (XI (XI (XI (XO (XO (XI (XI (XO XH)))))))))) :: ((((((Npos
+    (XI (XI (XO (XO (XO (XI (XI (XO XH))))))))), (Npos (XO (XI (XI (XI (XO
+    (XI (XO (XO (XO XH))))))))))), (Npos (XI (XI (XI (XI XH)))))), (Npos (XO
+    (XI (XO XH))))), (Npos (XI (XI (XI (XI (XO (XI (XI (XO
+    XH)))))))))) :: ((((((Npos (XO (XI (XO (XI (XO (XI (XI (XO XH))))))))),
+    (Npos (XO (XO (XI (XO (XO (XI (XO (XI (XI XH))))))))))), (Npos (XI (XI
+    (XI (XI XH)))))), (Npos (XO (XI (XO XH))))), (Npos (XI (XO (XI (XO (XI
+    (XI (XI (XO XH)))))))))) :: ((((((Npos (XO (XO (XO (XO (XI (XI (XI (XO
+    XH))))))))), (Npos (XO (XO (XI (XO (XI (XO (XO (XI XH)))))))))), (Npos
+    (XI (XI (XI (XI XH)))))), (Npos (XO (XI (XO XH))))), (Npos (XI (XI (XO
+    (XI (XI (XI (XI (XO XH)))))))))) :: ((((((Npos (XO (XO (XI (XO (XI (XI
+    (XI (XO XH))))))))), (Npos (XO (XO (XO (XI (XO (XO (XO (XO (XO
+    XH))))))))))), (Npos (XI (XO (XI (XO (XO XH))))))), (Npos (XO (XI (XO
+    XH))))), (Npos (XI (XO (XI (XO (XO (XO (XO (XI XH)))))))))) :: ((((((Npos
+    (XO (XO (XI (XI (XI (XI (XI (XO XH))))))))), (Npos (XO (XI (XI (XI (XO
+    (XO (XI (XO (XI XH))))))))))), (Npos (XI (XO (XI (XO (XO XH))))))), (Npos
+    (XO (XI (XO XH))))), (Npos (XI (XO (XI (XI (XO (XO (XO (XI
+    XH)))))))))) :: ((((((Npos (XI (XO (XO (XO (XO (XO (XO (XI XH))))))))),
+    (Npos (XI (XO (XI (XO (XO (XI (XI (XI XH)))))))))), (Npos (XI (XO (XI (XO
+    (XO XH))))))), (Npos (XO (XI (XO XH))))), (Npos (XI (XO (XO (XO (XI (XO
+    (XO (XI XH)))))))))) :: ((((((Npos (XI (XO (XO (XI (XO (XO (XO (XI
+    XH))))))))), (Npos (XO (XO (XO (XI (XI (XO (XI (XI (XO XH))))))))))),
+    (Npos (XI (XO (XI (XO (XO XH))))))), (Npos (XO (XI (XO XH))))), (Npos (XI
+    (XO (XO (XI (XI (XO (XO (XI XH)))))))))) :: ((((((Npos (XI (XO (XI (XO
+    (XI (XO (XO (XI XH))))))))), (Npos (XO (XI (XO (XI (XO (XI (XO (XO (XO
+    XH))))))))))), (Npos (XI (XO (XI (XO (XO XH))))))), (Npos (XO (XI (XO
+    XH))))), (Npos (XI (XO (XI (XO (XO (XI (XO (XI XH)))))))))) :: ((((((Npos
+    (XO (XI (XO (XO (XO (XI (XO (XI XH))))))))), (Npos (XI (XI (XI (XO (XI
+    (XO (XI (XI XH)))))))))), (Npos (XI (XO (XI (XO (XO XH))))))), (Npos (XO
+    (XI (XO XH))))), (Npos (XI (XO (XO (XO (XI (XI (XO (XI
+    XH)))))))))) :: ((((((Npos (XO (XO (XI (XI (XO (XI (XO (XI XH))))))))),
+    (Npos (XI (XO (XO (XO (XO (XO (XO (XI (XO XH))))))))))), (Npos (XI (XO
+    (XI (XO (XO XH))))))), (Npos (XO (XI (XO XH))))), (Npos (XI (XI (XO (XI
+    (XI (XI (XO (XI XH)))))))))) :: ((((((Npos (XO (XI (XO (XO (XI (XI (XO
+    (XI XH))))))))), (Npos (XO (XO (XI (XI (XI (XO (XI (XI (XO XH))))))))))),
+    (Npos (XI (XO (XI (XO (XO XH))))))), (Npos (XO (XI (XO XH))))), (Npos (XI
+    (XO (XO (XO (XO (XO (XI (XI XH)))))))))) :: ((((((Npos (XI (XI (XI (XI
+    (XI (XI (XO (XI XH))))))))), (Npos (XI (XO (XO (XO (XO (XO (XI
+    XH))))))))), (Npos (XI (XO (XI (XO (XO XH))))))), (Npos (XO (XI (XO
+    XH))))), (Npos (XI (XO (XI (XI (XO (XO (XI (XI XH)))))))))) :: ((((((Npos
+    (XI (XO (XI (XO (XO (XO (XI (XI XH))))))))), (Npos (XO (XI (XI (XO (XO
+    (XI (XO (XI (XI XH))))))))))), (Npos (XI (XO (XI (XO (XO XH))))))), (Npos
+    (XO (XI (XO XH))))), (Npos (XI (XI (XO (XO (XI (XO (XI (XI
+    XH)))))))))) :: ((((((Npos (XO (XI (XO (XO (XI (XO (XI (XI XH))))))))),
+    (Npos (XO (XO (XO (XO (XO (XI (XI (XO (XI XH))))))))))), (Npos (XI (XO
+    (XI (XO (XO XH))))))), (Npos (XO (XI (XO XH))))), (Npos (XI (XI (XI (XI
+    (XI (XO (XI (XI XH)))))))))) :: ((((((Npos (XO (XI (XI (XI (XI (XO (XI
+    (XI XH))))))))), (Npos (XO (XI (XI (XO (XI (XO (XO (XO (XI XH))))))))))),
+    (Npos (XI (XO (XI (XO (XO XH))))))), (Npos (XO (XI (XO XH))))), (Npos (XI
+    (XI (XO (XI (XO (XI (XI (XI XH)))))))))) :: ((((((Npos (XO (XI (XI (XO
+    (XO (XI (XI (XI XH))))))))), (Npos (XO (XO (XO (XO (XI (XO (XO (XI (XI
+    XH))))))))))), (Npos (XI (XO (XI (XO (XO XH))))))), (Npos (XO (XI (XO
+    XH))))), (Npos (XI (XI (XO (XO (XI (XI (XI (XI XH)))))))))) :: ((((((Npos
+    (XI (XI (XO (XI (XO (XI (XI (XI XH))))))))), (Npos (XI (XO (XO (XI (XO
+    (XI (XI (XO (XO XH))))))))))), (Npos (XI (XO (XI (XO (XO XH))))))), (Npos
+    (XO (XI (XO XH))))), (Npos (XI (XI (XI (XO (XI (XI (XI (XI
+    XH)))))))))) :: ((((((Npos (XI (XO (XO (XO (XI (XI (XI (XI XH))))))))),
+    (Npos (XI (XI (XO (XI (XO (XO (XI (XO (XO XH))))))))))), (Npos (XI (XO
+    (XI (XO (XO XH))))))), (Npos (XO (XI (XO XH))))), (Npos (XI (XO (XI (XI
+    (XI (XI (XI (XI XH)))))))))) :: ((((((Npos (XI (XI (XI (XI (XI (XI (XI
+    (XI XH))))))))), (Npos (XO (XO (XO (XO (XO (XI (XO (XO (XI XH))))))))))),
+    (Npos (XI (XO (XI (XO (XO XH))))))), (Npos (XO (XI (XO XH))))), (Npos (XI
+    (XI (XO (XI (XO (XO (XO (XO (XO XH))))))))))) :: ((((((Npos (XO (XI (XI
+    (XI (XO (XO (XO (XO (XO XH)))))))))), (Npos (XI (XI (XO (XI (XI (XO (XO
+    (XI (XI XH))))))))))), (Npos (XI (XO (XO (XI (XO XH))))))), (Npos (XO (XI
+    (XO XH))))), (Npos (XI (XO (XI (XI (XI (XO (XO (XO (XO
+    XH))))))))))) :: ((((((Npos (XO (XO (XI (XO (XI (XO (XO (XO (XO
+    XH)))))))))), (Npos (XO (XI (XI (XO (XO (XI (XI (XI (XI XH))))))))))),
+    (Npos (XI (XO (XO (XI (XO XH))))))), (Npos (XO (XI (XO XH))))), (Npos (XI
+    (XI (XO (XO (XO (XI (XO (XO (XO XH))))))))))) :: ((((((Npos (XO (XI (XI
+    (XI (XI (XO (XO (XO (XO XH)))))))))), (Npos (XO (XO (XI (XI (XI (XO
+    XH)))))))), (Npos (XI (XO (XO (XI (XO XH))))))), (Npos (XO (XI (XO
+    XH))))), (Npos (XI (XO (XI (XI (XO (XI (XO (XO (XO
+    XH))))))))))) :: ((((((Npos (XI (XO (XI (XO (XO (XI (XO (XO (XO
+    XH)))))))))), (Npos (XI (XO (XO (XO (XI (XI (XI (XI XH)))))))))), (Npos
+    (XI (XO (XO (XI (XO XH))))))), (Npos (XO (XI (XO XH))))), (Npos (XI (XI
+    (XO (XO (XI (XI (XO (XO (XO XH))))))))))) :: ((((((Npos (XI (XO (XI (XI
+    (XO (XI (XO (XO (XO XH)))))))))), (Npos (XI (XI (XI (XI (XO (XI (XO (XO
+    (XO XH))))))))))), (Npos (XI (XO (XO (XI (XO XH))))))), (Npos (XO (XI (XO
+    XH))))), (Npos (XI (XI (XO (XI (XI (XI (XO (XO (XO
+    XH))))))))))) :: ((((((Npos (XI (XI (XO (XO (XI (XI (XO (XO (XO
+    XH)))))))))), (Npos (XI (XI (XO (XI (XI (XO (XO (XI (XO XH))))))))))),
+    (Npos (XI (XO (XO (XI (XO XH))))))), (Npos (XO (XI (XO XH))))), (Npos (XI
+    (XO (XO (XO (XO (XO (XI (XO (XO XH))))))))))) :: ((((((Npos (XI (XO (XI
+    (XI (XI (XI (XO (XO (XO XH)))))))))), (Npos (XO (XO (XO (XO (XI (XO (XO
+    (XI (XI XH))))))))))), (Npos (XI (XO (XO (XI (XO XH))))))), (Npos (XO (XI
+    (XO XH))))), (Npos (XI (XI (XO (XI (XO (XO (XI (XO (XO
+    XH))))))))))) :: ((((((Npos (XO (XO (XI (XO (XO (XO (XI (XO (XO
+    XH)))))))))), (Npos (XO (XI (XI (XO (XO (XO (XO (XO XH)))))))))), (Npos
+    (XI (XO (XO (XI (XO XH))))))), (Npos (XO (XI (XO XH))))), (Npos (XI (XO
+    (XO (XO (XI (XO (XI (XO (XO XH))))))))))) :: ((((((Npos (XO (XO (XI (XI
+    (XO (XO (XI (XO (XO XH)))))))))), (Npos (XO (XO (XO (XI (XI (XO (XO
+    XH))))))))), (Npos (XI (XO (XO (XI (XO XH))))))), (Npos (XO (XI (XO
+    XH))))), (Npos (XI (XO (XO (XI (XI (XO (XI (XO (XO
+    XH))))))))))) :: ((((((Npos (XO (XI (XO (XO (XI (XO (XI (XO (XO
+    XH)))))))))), (Npos (XO (XI (XI (XI (XO (XO (XO (XO (XO XH))))))))))),
+    (Npos (XI (XO (XO (XI (XO XH))))))), (Npos (XO (XI (XO XH))))), (Npos (XI
+    (XI (XI (XI (XI (XO (XI (XO (XO XH))))))))))) :: ((((((Npos (XO (XO (XO
+    (XI (XI (XO (XI (XO (XO XH)))))))))), (Npos (XO (XO (XI (XI (XO (XO (XO
+    (XO XH)))))))))), (Npos (XI (XO (XO (XI (XO XH))))))), (Npos (XO (XI (XO
+    XH))))), (Npos (XI (XO (XI (XO (XO (XI (XI (XO (XO
+    XH))))))))))) :: ((((((Npos (XO (XI (XI (XI (XI (XO (XI (XO (XO
+    XH)))))))))), (Npos (XO (XO (XI (XO (XI (XO (XI XH))))))))), (Npos (XI
+    (XO (XO (XI (XO XH))))))), (Npos (XO (XI (XO XH))))), (Npos (XI (XI (XO
+    (XI (XO (XI (XI (XO (XO XH))))))))))) :: ((((((Npos (XI (XI (XO (XI (XO
+    (XI (XI (XO (XO XH)))))))))), (Npos (XI (XO (XI (XI (XO XH))))))), (Npos
+    (XI (XO (XO (XI (XO XH))))))), (Npos (XO (XI (XO XH))))), (Npos (XI (XI
+    (XI (XO (XI (XI (XI (XO (XO XH))))))))))) :: ((((((Npos (XI (XO (XO (XI
+    (XI (XI (XI (XO (XO XH)))))))))), (Npos (XO (XI (XO (XO (XO (XO (XO (XI
+    (XI XH))))))))))), (Npos (XI (XI (XO (XI (XO XH))))))), (Npos (XO (XI (XO
+    XH))))), (Npos (XI (XI (XI (XO (XO (XO (XO (XI (XO
+    XH))))))))))) :: ((((((Npos (XO (XO (XO (XO (XO (XO (XO (XI (XO
+    XH)))))))))), (Npos (XI (XI (XI (XI (XO (XO (XO (XO (XO XH))))))))))),
+    (Npos (XI (XI (XO (XI (XO XH))))))), (Npos (XO (XI (XO XH))))), (Npos (XI
+    (XO (XI (XI (XO (XO (XO (XI (XO XH))))))))))) :: ((((((Npos (XO (XO (XO
+    (XI (XO (XO (XO (XI (XO XH)))))))))), (Npos (XO (XI (XI (XI (XO (XI (XO
+    (XO (XO XH))))))))))), (Npos (XI (XI (XO (XI (XO XH))))))), (Npos (XO (XI
+    (XO XH))))), (Npos (XI (XO (XI (XO (XI (XO (XO (XI (XO
+    XH))))))))))) :: ((((((Npos (XO (XI (XO (XI (XI (XO (XO (XI (XO
+    XH)))))))))), (Npos (XO (XO (XI (XI (XO (XO (XI (XI XH)))))))))), (Npos
+    (XI (XI (XI (XI (XO XH))))))), (Npos (XO (XI (XO XH))))), (Npos (XI (XI
+    (XO (XI (XO (XI (XO (XI (XO XH))))))))))) :: ((((((Npos (XI (XI (XO (XO
+    (XO (XI (XO (XI (XO XH)))))))))), (Npos (XI (XO XH)))), (Npos (XI (XI (XI
+    (XI (XO XH))))))), (Npos (XO (XI (XO XH))))), (Npos (XI (XI (XO (XO (XI
+    (XI (XO (XI (XO XH))))))))))) :: ((((((Npos (XI (XO (XI (XI (XO (XI (XO
+    (XI (XO XH)))))))))), (Npos (XI (XI (XI (XI (XI (XI (XI (XO (XI
+    XH))))))))))), (Npos (XI (XI (XI (XI (XO XH))))))), (Npos (XO (XI (XO
+    XH))))), (Npos (XI (XO (XI (XI (XI (XI (XO (XI (XO
+    XH))))))))))) :: ((((((Npos (XI (XO (XI (XO (XI (XI (XO (XI (XO
+    XH)))))))))), (Npos (XO (XO (XI (XO (XO (XI (XI (XI (XI XH))))))))))),
+    (Npos (XI (XI (XI (XI (XO XH))))))), (Npos (XO (XI (XO XH))))), (Npos (XI
+    (XO (XI (XO (XO (XO (XI (XI (XO XH))))))))))) :: ((((((Npos (XI (XI (XI
+    (XI (XI (XI (XO (XI (XO XH)))))))))), (Npos (XO (XI (XO (XI (XI (XO (XO
+    (XO XH)))))))))), (Npos (XI (XI (XI (XI (XO XH))))))), (Npos (XO (XI (XO
+    XH))))), (Npos (XI (XI (XI (XI (XO (XO (XI (XI (XO
+    XH))))))))))) :: ((((((Npos (XO (XI (XI (XI (XO (XO (XI (XI (XO
+    XH)))))))))), (Npos (XI (XO (XO (XO (XO (XO (XO (XO (XO XH))))))))))),
+    (Npos (XI (XI (XI (XI (XO XH))))))), (Npos (XO (XI (XO XH))))), (Npos (XI
+    (XO (XI (XI (XI (XO (XI (XI (XO XH))))))))))) :: ((((((Npos (XO (XO (XO
+    (XI (XI (XO (XI (XI (XO XH)))))))))), (Npos (XI (XO (XO (XO (XO (XI (XI
+    (XO (XI XH))))))))))), (Npos (XI (XI (XI (XI (XO XH))))))), (Npos (XO (XI
+    (XO XH))))), (Npos (XI (XI (XI (XO (XO (XI (XI (XI (XO
+    XH))))))))))) :: ((((((Npos (XO (XO (XO (XO (XO (XI (XI (XI (XO
+    XH)))))))))), (Npos (XO (XI (XI (XO (XO (XI (XI (XO (XI XH))))))))))),
+    (Npos (XI (XI (XI (XI (XO XH))))))), (Npos (XO (XI (XO XH))))), (Npos (XI
+    (XI (XI (XI (XO (XI (XI (XI (XO XH))))))))))) :: ((((((Npos (XI (XI (XO
+    (XI (XO (XI (XI (XI (XO XH)))))))))), (Npos (XI (XI (XI (XI (XO (XI (XI
+    XH))))))))), (Npos (XI (XI (XI (XI (XO XH))))))), (Npos (XO (XI (XO
+    XH))))), (Npos (XI (XO (XO (XI (XI (XI (XI (XI (XO
+    XH))))))))))) :: ((((((Npos (XI (XI (XI (XO (XI (XI (XI (XI (XO
+    XH)))))))))), (Npos (XO (XO (XI (XO (XO (XO (XI (XI XH)))))))))), (Npos
+    (XI (XI (XI (XI (XO XH))))))), (Npos (XO (XI (XO XH))))), (Npos (XI (XO
+    (XI (XO (XO (XO (XO (XO (XI XH))))))))))) :: ((((((Npos (XO (XI (XO (XI
+    (XO (XO (XO (XO (XI XH)))))))))), (Npos (XO (XI (XI (XI (XI (XO (XI (XO
+    (XI XH))))))))))), (Npos (XI (XO (XI (XO (XI XH))))))), (Npos (XO (XI (XO
+    XH))))), (Npos (XI (XO (XI (XI (XI (XO (XO (XO (XI
+    XH))))))))))) :: ((((((Npos (XO (XO (XO (XI (XI (XO (XO (XO (XI
+    XH)))))))))), (Npos (XO (XO (XI (XO (XI (XO (XI (XO (XI XH))))))))))),
+    (Npos (XI (XO (XI (XO (XI XH))))))), (Npos (XO (XI (XO XH))))), (Npos (XI
+    (XI (XO (XI (XO (XI (XO (XO (XI XH))))))))))) :: ((((((Npos (XO (XI (XO
+    (XO (XO (XI (XO (XO (XI XH)))))))))), (Npos (XI (XI (XO (XO (XO (XO (XO
+    (XI (XO XH))))))))))), (Npos (XI (XO (XI (XO (XI XH))))))), (Npos (XO (XI
+    (XO XH))))), (Npos (XI (XO (XI (XO (XI (XI (XO (XO (XI
+    XH))))))))))) :: ((((((Npos (XI (XI (XO (XI (XO (XI (XO (XO (XI
+    XH)))))))))), (Npos (XI (XI (XI (XI (XI (XO (XO (XO (XO XH))))))))))),
+    (Npos (XI (XO (XI (XO (XI XH))))))), (Npos (XO (XI (XO XH))))), (Npos (XI
+    (XO (XI (XI (XI (XI (XO (XO (XI XH))))))))))) :: ((((((Npos (XI (XO (XI
+    (XO (XI (XI (XO (XO (XI XH)))))))))), (Npos (XI (XI (XI (XI (XI (XI (XO
+    (XI XH)))))))))), (Npos (XI (XO (XI (XO (XI XH))))))), (Npos (XO (XI (XO
+    XH))))), (Npos (XI (XI (XI (XO (XO (XO (XI (XO (XI
+    XH))))))))))) :: ((((((Npos (XI (XI (XO (XO (XO (XO (XI (XO (XI
+    XH)))))))))), (Npos (XI (XO (XO (XO (XO (XO (XI (XO XH)))))))))), (Npos
+    (XI (XO (XI (XO (XI XH))))))), (Npos (XO (XI (XO XH))))), (Npos (XI (XO
+    (XI (XO (XI (XO (XI (XO (XI XH))))))))))) :: ((((((Npos (XI (XO (XI (XI
+    (XO (XO (XI (XO (XI XH)))))))))), (Npos (XI (XI (XI (XI (XI (XO (XO (XO
+    XH)))))))))), (Npos (XI (XO (XI (XO (XI XH))))))), (Npos (XO (XI (XO
+    XH))))), (Npos (XI (XI (XI (XI (XI (XO (XI (XO (XI
+    XH))))))))))) :: ((((((Npos (XO (XO (XI (XI (XI (XO (XI (XO (XI
+    XH)))))))))), (Npos (XO (XO (XI XH))))), (Npos (XI (XO (XI (XO (XI
+    XH))))))), (Npos (XO (XI (XO XH))))), (Npos (XI (XO (XI (XI (XO (XI (XI
+    (XO (XI XH))))))))))) :: ((((((Npos (XO (XI (XI (XO (XO (XI (XI (XO (XI
+    XH)))))))))), (Npos (XI (XI (XO (XI (XI (XI (XI XH))))))))), (Npos (XI
+    (XO (XI (XO (XI XH))))))), (Npos (XO (XI (XO XH))))), (Npos (XI (XI (XI
+    (XO (XI (XI (XI (XO (XI XH))))))))))) :: ((((((Npos (XI (XI (XO (XI (XI
+    (XI (XI (XO (XI XH)))))))))), (Npos (XO (XI (XI (XI XH)))))), (Npos (XI
+    (XO (XI (XO (XI XH))))))), (Npos (XO (XI (XO XH))))), (Npos (XI (XI (XO
+    (XI (XO (XO (XO (XI (XI XH))))))))))) :: ((((((Npos (XI (XI (XI (XO (XO
+    (XO (XO (XI (XI XH)))))))))), (Npos (XI (XO (XI (XI (XO (XI (XI (XO (XO
+    XH))))))))))), (Npos (XI (XO (XI (XO (XI XH))))))), (Npos (XO (XI (XO
+    XH))))), (Npos (XI (XI (XI (XO (XI (XO (XO (XI (XI
+    XH))))))))))) :: ((((((Npos (XI (XO (XO (XO (XI (XO (XO (XI (XI
+    XH)))))))))), (Npos (XI (XI (XO (XI (XO (XI (XO (XO (XO XH))))))))))),
+    (Npos (XI (XO (XI (XO (XI XH))))))), (Npos (XO (XI (XO XH))))), (Npos (XI
+    (XO (XO (XO (XO (XI (XO (XI (XI XH))))))))))) :: ((((((Npos (XO (XI (XI
+    (XI (XI (XO (XO (XI (XI XH)))))))))), (Npos (XI (XI (XI (XI (XI (XI
+    XH)))))))), (Npos (XI (XO (XI (XO (XI XH))))))), (Npos (XO (XI (XO
+    XH))))), (Npos (XI (XO (XI (XI (XO (XI (XO (XI (XI
+    XH))))))))))) :: ((((((Npos (XO (XI (XO (XI (XO (XI (XO (XI (XI
+    XH)))))))))), (Npos (XO (XO (XO (XO (XI (XO (XO (XI XH)))))))))), (Npos
+    (XI (XO (XI (XO (XI XH))))))), (Npos (XO (XI (XO XH))))), (Npos (XI (XO
+    (XO (XI (XI (XI (XO (XI (XI XH))))))))))) :: ((((((Npos (XO (XI (XI (XO
+    (XI (XI (XO (XI (XI XH)))))))))), (Npos (XI (XI (XO (XI (XI (XO
+    XH)))))))), (Npos (XI (XI (XO (XI (XI XH))))))), (Npos (XO (XI (XO
+    XH))))), (Npos (XI (XI (XO (XI (XO (XO (XI (XI (XI
+    XH))))))))))) :: ((((((Npos (XI (XI (XO (XO (XO (XO (XI (XI (XI
+    XH)))))))))), (Npos (XO (XO (XI (XO (XI (XO (XO (XI (XI XH))))))))))),
+    (Npos (XI (XI (XO (XI (XI XH))))))), (Npos (XO (XI (XO XH))))), (Npos (XI
+    (XI (XI (XO (XI (XO (XI (XI (XI XH))))))))))) :: ((((((Npos (XI (XO (XO
+    (XO (XI (XO (XI (XI (XI XH)))))))))), (Npos (XI (XI (XI (XO (XO (XI (XO
+    (XI (XI XH))))))))))), (Npos (XI (XI (XO (XI (XI XH))))))), (Npos (XO (XI
+    (XO XH))))), (Npos (XI (XO (XI (XO (XO (XI (XI (XI (XI
+    XH))))))))))) :: ((((((Npos (XI (XO (XI (XI (XI (XO (XI (XI (XI
+    XH)))))))))), (Npos (XI (XI (XO (XO (XI (XI (XO (XI (XO XH))))))))))),
+    (Npos (XI (XI (XO (XI (XI XH))))))), (Npos (XO (XI (XO XH))))), (Npos (XI
+    (XO (XO (XO (XI (XI (XI (XI (XI XH))))))))))) :: ((((((Npos (XO (XI (XO
+    (XI (XO (XI (XI (XI (XI XH)))))))))), (Npos (XI (XI (XO (XI (XO (XI (XO
+    (XO XH)))))))))), (Npos (XI (XI (XO (XI (XI XH))))))), (Npos (XO (XI (XO
+    XH))))), (Npos (XI (XO (XI (XI (XI (XI (XI (XI (XI
+    XH))))))))))) :: ((((((Npos (XO (XO (XI (XI (XI (XI (XI (XI (XI
+    XH)))))))))), (Npos (XO (XI (XO (XI (XI (XO (XO (XO XH)))))))))), (Npos
+    (XI (XI (XO (XI (XI XH))))))), (Npos (XO (XI (XO XH))))), (Npos (XI (XI
+    (XI (XI (XO (XO (XO (XO (XO (XO XH)))))))))))) :: ((((((Npos (XO (XO (XO
+    (XI (XO (XO (XO (XO (XO (XO XH))))))))))), (Npos (XO (XO (XO (XI (XI (XI
+    (XO (XO (XI XH))))))))))), (Npos (XI (XI (XO (XI (XI XH))))))), (Npos (XO
+    (XI (XO XH))))), (Npos (XI (XI (XO (XI (XI (XO (XO (XO (XO (XO
+    XH)))))))))))) :: ((((((Npos (XO (XI (XO (XI (XI (XO (XO (XO (XO (XO
+    XH))))))))))), (Npos (XO (XO (XO (XI (XI (XO (XO (XO (XO XH))))))))))),
+    (Npos (XI (XI (XO (XI (XI XH))))))), (Npos (XI (XI (XO XH))))), (Npos (XI
+    (XO (XI (XI (XO (XI (XO (XO (XO (XO XH)))))))))))) :: ((((((Npos (XO (XI
+    (XO (XO (XI (XI (XO (XO (XO (XO XH))))))))))), (Npos (XO (XO (XI (XO (XI
+    (XO (XI (XO (XO XH))))))))))), (Npos (XI (XI (XO (XI (XI XH))))))), (Npos
+    (XI (XI (XO XH))))), (Npos (XI (XO (XI (XO (XO (XO (XI (XO (XO (XO
+    XH)))))))))))) :: ((((((Npos (XI (XO (XI (XI (XI (XI (XO (XO (XO (XO
+    XH))))))))))), (Npos (XO (XO (XI (XI XH)))))), (Npos (XI (XI (XO (XI (XI
+    XH))))))), (Npos (XI (XI (XO XH))))), (Npos (XI (XI (XI (XI (XO (XO (XI
+    (XO (XO (XO XH)))))))))))) :: ((((((Npos (XI (XI (XO (XI (XO (XO (XI (XO
+    (XO (XO XH))))))))))), (Npos (XI (XI (XO (XO (XI (XI (XO (XI (XI
+    XH))))))))))), (Npos (XI (XI (XO (XI (XI XH))))))), (Npos (XI (XI (XO
+    XH))))), (Npos (XI (XO (XI (XI (XI (XO (XI (XO (XO (XO
+    XH)))))))))))) :: ((((((Npos (XI (XI (XI (XO (XI (XO (XI (XO (XO (XO
+    XH))))))))))), (Npos (XO (XI (XO (XO (XO (XI (XO XH))))))))), (Npos (XI
+    (XI (XO (XI (XI XH))))))), (Npos (XI (XI (XO XH))))), (Npos (XI (XO (XO
+    (XI (XO (XI (XI (XO (XO (XO XH)))))))))))) :: ((((((Npos (XO (XO (XO (XO
+    (XI (XI (XI (XO (XO (XO XH))))))))))), (Npos (XO (XO (XO (XI (XI (XO (XO
+    (XO (XO XH))))))))))), (Npos (XI (XI (XO (XI (XI XH))))))), (Npos (XI (XI
+    (XO XH))))), (Npos (XI (XO (XO (XO (XO (XO (XO (XI (XO (XO
+    XH)))))))))))) :: ((((((Npos (XO (XO (XO (XO (XO (XO (XO (XI (XO (XO
+    XH))))))))))), (Npos (XO (XO (XO (XI (XO (XI (XI (XI (XI XH))))))))))),
+    (Npos (XI (XO (XI (XI (XI XH))))))), (Npos (XI (XI (XO XH))))), (Npos (XI
+    (XI (XO (XO (XI (XO (XO (XI (XO (XO XH)))))))))))) :: ((((((Npos (XI (XO
+    (XO (XO (XI (XO (XO (XI (XO (XO XH))))))))))), (Npos (XI (XI (XO (XI (XI
+    (XI (XI XH))))))))), (Npos (XI (XO (XI (XI (XI XH))))))), (Npos (XI (XI
+    (XO XH))))), (Npos (XI (XI (XO (XO (XO (XI (XO (XI (XO (XO
+    XH)))))))))))) :: ((((((Npos (XI (XI (XI (XI (XI (XO (XO (XI (XO (XO
+    XH))))))))))), (Npos (XI (XO (XO (XO (XO (XI (XO (XI (XO XH))))))))))),
+    (Npos (XI (XO (XI (XI (XI XH))))))), (Npos (XI (XI (XO XH))))), (Npos (XI
+    (XO (XO (XO (XI (XI (XO (XI (XO (XO XH)))))))))))) :: ((((((Npos (XI (XO
+    (XI (XO (XI (XI (XO (XI (XO (XO XH))))))))))), (Npos (XI (XI (XI (XI (XO
+    (XI (XO (XO (XO XH))))))))))), (Npos (XI (XO (XI (XI (XI XH))))))), (Npos
+    (XI (XI (XO XH))))), (Npos (XI (XI (XI (XO (XO (XO (XI (XI (XO (XO
+    XH)))))))))))) :: ((((((Npos (XO (XO (XI (XO (XO (XO (XI (XI (XO (XO
+    XH))))))))))), (Npos (XI (XI (XO (XI (XI (XO (XO (XI (XI XH))))))))))),
+    (Npos (XI (XO (XI (XI (XI XH))))))), (Npos (XI (XI (XO XH))))), (Npos (XI
+    (XO (XI (XO (XI (XO (XI (XI (XO (XO XH)))))))))))) :: ((((((Npos (XO (XO
+    (XI (XO (XI (XO (XI (XI (XO (XO XH))))))))))), (Npos (XI (XO (XO (XO (XI
+    (XO XH)))))))), (Npos (XI (XI (XO (XO (XO (XO XH)))))))), (Npos (XI (XI
+    (XO XH))))), (Npos (XI (XI (XO (XI (XO (XI (XI (XI (XO (XO
+    XH)))))))))))) :: ((((((Npos (XI (XI (XI (XO (XO (XI (XI (XI (XO (XO
+    XH))))))))))), (Npos (XO (XI (XI (XI (XI (XO (XI (XI XH)))))))))), (Npos
+    (XI (XI (XO (XO (XO (XO XH)))))))), (Npos (XI (XI (XO XH))))), (Npos (XI
+    (XO (XI (XI (XI (XI (XI (XI (XO (XO XH)))))))))))) :: ((((((Npos (XI (XO
+    (XI (XO (XI (XI (XI (XI (XO (XO XH))))))))))), (Npos (XO (XI (XI (XO (XO
+    (XO (XI XH))))))))), (Npos (XI (XI (XO (XO (XO (XO XH)))))))), (Npos (XI
+    (XI (XO XH))))), (Npos (XI (XI (XO (XI (XO (XO (XO (XO (XI (XO
+    XH)))))))))))) :: ((((((Npos (XI (XO (XI (XO (XO (XO (XO (XO (XI (XO
+    XH))))))))))), (Npos (XI (XO (XO (XI (XO (XO (XO XH))))))))), (Npos (XI
+    (XI (XO (XO (XO (XO XH)))))))), (Npos (XI (XI (XO XH))))), (Npos (XI (XI
+    (XO (XI (XI (XO (XO (XO (XI (XO XH)))))))))))) :: ((((((Npos (XO (XI (XO
+    (XI (XI (XO (XO (XO (XI (XO XH))))))))))), (Npos (XI (XI (XO (XI (XO (XO
+    XH)))))))), (Npos (XI (XI (XO (XO (XO (XO XH)))))))), (Npos (XI (XI (XO
+    XH))))), (Npos (XI (XI (XI (XI (XO (XI (XO (XO (XI (XO
+    XH)))))))))))) :: ((((((Npos (XI (XI (XO (XO (XO (XO (XI (XO (XI (XO
+    XH))))))))))), (Npos (XI (XO (XI (XI XH)))))), (Npos (XI (XI (XO (XO (XO
+    (XO XH)))))))), (Npos (XI (XI (XO XH))))), (Npos (XI (XI (XI (XO (XI (XO
+    (XI (XO (XI (XO XH)))))))))))) :: ((((((Npos (XI (XO (XO (XO (XI (XO (XI
+    (XO (XI (XO XH))))))))))), (Npos (XI (XI (XI (XO (XO (XI (XI XH))))))))),
+    (Npos (XI (XI (XO (XO (XO (XO XH)))))))), (Npos (XI (XI (XO XH))))),
+    (Npos (XI (XO (XI (XO (XO (XI (XI (XO (XI (XO
+    XH)))))))))))) :: ((((((Npos (XI (XO (XI (XI (XO (XI (XI (XO (XI (XO
+    XH))))))))))), (Npos (XO (XO (XI (XO (XI (XO (XO (XO (XO XH))))))))))),
+    (Npos (XI (XI (XO (XO (XO (XO XH)))))))), (Npos (XI (XI (XO XH))))),
+    (Npos (XI (XO (XO (XO (XO (XO (XO (XI (XI (XO
+    XH)))))))))))) :: ((((((Npos (XO (XO (XI (XI (XI (XI (XI (XO (XI (XO
+    XH))))))))))), (Npos (XO (XI (XO (XI (XI XH))))))), (Npos (XI (XI (XO (XO
+    (XO (XO XH)))))))), (Npos (XI (XI (XO XH))))), (Npos (XI (XI (XI (XI (XO
+    (XO (XO (XI (XI (XO XH)))))))))))) :: ((((((Npos (XO (XO (XI (XI (XO (XO
+    (XO (XI (XI (XO XH))))))))))), (Npos (XO (XO (XI (XI (XI XH))))))), (Npos
+    (XI (XI (XO (XO (XO (XO XH)))))))), (Npos (XI (XI (XO XH))))), (Npos (XI
+    (XI (XI (XI (XI (XO (XO (XI (XI (XO XH)))))))))))) :: ((((((Npos (XO (XO
+    (XI (XI (XI (XO (XO (XI (XI (XO XH))))))))))), (Npos (XO (XO (XI (XO (XO
+    (XO (XI (XI (XI XH))))))))))), (Npos (XI (XI (XI (XO (XO (XO XH)))))))),
+    (Npos (XI (XI (XO XH))))), (Npos (XI (XI (XO (XO (XI (XI (XO (XI (XI (XO
+    XH)))))))))))) :: ((((((Npos (XI (XO (XI (XO (XI (XI (XO (XI (XI (XO
+    XH))))))))))), (Npos (XO (XO (XO (XO (XI (XI (XI (XO (XO XH))))))))))),
+    (Npos (XI (XI (XI (XO (XO (XO XH)))))))), (Npos (XI (XI (XO XH))))),
+    (Npos (XI (XI (XO (XI (XO (XO (XI (XI (XI (XO
+    XH)))))))))))) :: ((((((Npos (XI (XO (XI (XO (XO (XO (XI (XI (XI (XO
+    XH))))))))))), (Npos (XO (XI (XI (XO (XI (XI (XI (XI XH)))))))))), (Npos
+    (XI (XI (XI (XO (XO (XO XH)))))))), (Npos (XI (XI (XO XH))))), (Npos (XI
+    (XI (XO (XI (XI (XO (XI (XI (XI (XO XH)))))))))))) :: ((((((Npos (XO (XI
+    (XI (XI (XI (XO (XI (XI (XI (XO XH))))))))))), (Npos (XO (XO (XI (XI (XI
+    (XI (XI (XO (XO XH))))))))))), (Npos (XI (XI (XI (XO (XO (XO XH)))))))),
+    (Npos (XI (XI (XO XH))))), (Npos (XI (XI (XO (XO (XI (XI (XI (XI (XI (XO
+    XH)))))))))))) :: ((((((Npos (XO (XI (XO (XO (XI (XI (XI (XI (XI (XO
+    XH))))))))))), (Npos (XO (XI (XO (XI (XI (XO (XI (XI (XI XH))))))))))),
+    (Npos (XI (XI (XI (XO (XO (XO XH)))))))), (Npos (XI (XI (XO XH))))),
+    (Npos (XI (XI (XI (XO (XO (XO (XO (XO (XO (XI
+    XH)))))))))))) :: ((((((Npos (XI (XI (XO (XO (XO (XO (XO (XO (XO (XI
+    XH))))))))))), (Npos (XO (XI (XI (XO (XI (XI (XO (XI (XI XH))))))))))),
+    (Npos (XI (XI (XI (XO (XO (XO XH)))))))), (Npos (XI (XI (XO XH))))),
+    (Npos (XI (XI (XI (XO (XI (XO (XO (XO (XO (XI
+    XH)))))))))))) :: ((((((Npos (XI (XO (XO (XI (XI (XO (XO (XO (XO (XI
+    XH))))))))))), (Npos (XI (XI (XI (XI (XI (XO (XI (XI (XO XH))))))))))),
+    (Npos (XI (XO (XO (XI (XO (XO XH)))))))), (Npos (XI (XI (XO XH))))),
+    (Npos (XI (XI (XI (XI (XO (XI (XO (XO (XO (XI
+    XH)))))))))))) :: ((((((Npos (XI (XI (XO (XI (XO (XI (XO (XO (XO (XI
+    XH))))))))))), (Npos (XO (XI (XO (XO (XO (XI (XI (XO (XI XH))))))))))),
+    (Npos (XI (XO (XO (XI (XO (XO XH)))))))), (Npos (XI (XI (XO XH))))),
+    (Npos (XI (XO (XO (XO (XO (XO (XI (XO (XO (XI
+    XH)))))))))))) :: ((((((Npos (XO (XO (XO (XO (XO (XO (XI (XO (XO (XI
+    XH))))))))))), (Npos (XI (XI (XO (XI (XO (XO (XI XH))))))))), (Npos (XI
+    (XO (XO (XI (XO (XO XH)))))))), (Npos (XI (XI (XO XH))))), (Npos (XI (XO
+    (XI (XO (XI (XO (XI (XO (XO (XI XH)))))))))))) :: ((((((Npos (XO (XO (XO
+    (XO (XI (XO (XI (XO (XO (XI XH))))))))))), (Npos (XI (XI (XO (XO (XI (XO
+    XH)))))))), (Npos (XI (XO (XO (XI (XO (XO XH)))))))), (Npos (XI (XI (XO
+    XH))))), (Npos (XI (XO (XI (XO (XO (XI (XI (XO (XO (XI
+    XH)))))))))))) :: ((((((Npos (XI (XO (XO (XO (XI (XI (XI (XO (XO (XI
+    XH))))))))))), (Npos (XO (XI (XI XH))))), (Npos (XI (XO (XO (XI (XO (XO
+    XH)))))))), (Npos (XI (XI (XO XH))))), (Npos (XI (XO (XI (XO (XO (XO (XO
+    (XI (XO (XI XH)))))))))))) :: ((((((Npos (XI (XO (XO (XI (XO (XO (XO (XI
+    (XO (XI XH))))))))))), (Npos (XO (XI (XO (XI (XO (XO (XO (XO (XO
+    XH))))))))))), (Npos (XI (XI (XI (XI (XO (XO XH)))))))), (Npos (XI (XI
+    (XO XH))))), (Npos (XI (XI (XO (XO (XO (XI (XO (XI (XO (XI
+    XH)))))))))))) :: ((((((Npos (XO (XI (XO (XO (XO (XI (XO (XI (XO (XI
+    XH))))))))))), (Npos (XO (XI (XO (XO (XO (XI (XI XH))))))))), (Npos (XI
+    (XI (XI (XI (XO (XO XH)))))))), (Npos (XI (XI (XO XH))))), (Npos (XI (XI
+    (XO (XI (XI (XI (XO (XI (XO (XI XH)))))))))))) :: ((((((Npos (XO (XO (XI
+    (XO (XI (XI (XO (XI (XO (XI XH))))))))))), (Npos (XO (XI (XO (XI (XI (XO
+    (XO (XO XH)))))))))), (Npos (XI (XI (XI (XI (XO (XO XH)))))))), (Npos (XI
+    (XI (XO XH))))), (Npos (XI (XO (XI (XI (XO (XO (XI (XI (XO (XI
+    XH)))))))))))) :: ((((((Npos (XO (XI (XI (XO (XO (XO (XI (XI (XO (XI
+    XH))))))))))), (Npos (XO (XO (XO (XI (XI (XO XH)))))))), (Npos (XI (XI
+    (XI (XI (XO (XO XH)))))))), (Npos (XI (XI (XO XH))))), (Npos (XI (XI (XI
+    (XI (XI (XO (XI (XI (XO (XI XH)))))))))))) :: ((((((Npos (XI (XI (XI (XI
+    (XI (XO (XI (XI (XO (XI XH))))))))))), (Npos (XO (XO (XI (XI (XI (XI (XI
+    (XO (XO XH))))))))))), (Npos (XI (XI (XI (XI (XO (XO XH)))))))), (Npos
+    (XI (XI (XO XH))))), (Npos (XI (XI (XI (XO (XI (XI (XI (XI (XO (XI
+    XH)))))))))))) :: ((((((Npos (XI (XO (XO (XO (XI (XI (XI (XI (XO (XI
+    XH))))))))))), (Npos (XO (XO (XI (XI (XI (XO (XI (XO (XI XH))))))))))),
+    (Npos (XI (XI (XI (XI (XO (XO XH)))))))), (Npos (XI (XI (XO XH))))),
+    (Npos (XI (XO (XO (XI (XO (XO (XO (XO (XI (XI
+    XH)))))))))))) :: ((((((Npos (XO (XO (XO (XI (XO (XO (XO (XO (XI (XI
+    XH))))))))))), (Npos (XO (XO (XI (XO (XO (XO (XI (XO XH)))))))))), (Npos
+    (XI (XI (XI (XI (XO (XO XH)))))))), (Npos (XI (XI (XO XH))))), (Npos (XI
+    (XI (XI (XI (XI (XO (XO (XO (XI (XI XH)))))))))))) :: ((((((Npos (XO (XO
+    (XO (XO (XO (XI (XO (XO (XI (XI XH))))))))))), (Npos (XO (XO (XO (XI (XO
+    (XI (XO (XI XH)))))))))), (Npos (XI (XI (XI (XI (XO (XO XH)))))))), (Npos
+    (XI (XI (XO XH))))), (Npos (XI (XI (XI (XO (XI (XI (XO (XO (XI (XI
+    XH)))))))))))) :: ((((((Npos (XO (XO (XI (XO (XI (XI (XO (XO (XI (XI
+    XH))))))))))), (Npos (XI (XI (XI (XO (XO (XI (XI (XI (XI XH))))))))))),
+    (Npos (XI (XI (XI (XI (XO (XO XH)))))))), (Npos (XI (XI (XO XH))))),
+    (Npos (XI (XI (XO (XI (XO (XO (XI (XO (XI (XI
+    XH)))))))))))) :: ((((((Npos (XI (XI (XI (XO (XO (XO (XI (XO (XI (XI
+    XH))))))))))), (Npos (XO (XI (XO (XI (XO (XI (XO (XI (XO XH))))))))))),
+    (Npos (XI (XI (XO (XO (XI (XO XH)))))))), (Npos (XI (XI (XO XH))))),
+    (Npos (XI (XO (XO (XO (XO (XI (XI (XO (XI (XI
+    XH)))))))))))) :: ((((((Npos (XI (XI (XI (XI (XI (XO (XI (XO (XI (XI
+    XH))))))))))), (Npos (XO (XI (XI (XI (XO (XI (XO (XO (XI XH))))))))))),
+    (Npos (XI (XI (XO (XO (XI (XO XH)))))))), (Npos (XI (XI (XO XH))))),
+    (Npos (XI (XO (XO (XI (XI (XI (XI (XO (XI (XI
+    XH)))))))))))) :: ((((((Npos (XO (XI (XO (XO (XI (XI (XI (XO (XI (XI
+    XH))))))))))), (Npos (XI (XI (XO (XO (XI (XO (XI (XI (XI XH))))))))))),
+    (Npos (XI (XI (XO (XO (XI (XO XH)))))))), (Npos (XI (XI (XO XH))))),
+    (Npos (XI (XI (XO (XI (XO (XO (XO (XI (XI (XI
+    XH)))))))))))) :: ((((((Npos (XO (XI (XI (XO (XO (XO (XO (XI (XI (XI
+    XH))))))))))), (Npos (XO (XI (XO (XI (XI (XO (XO (XO (XO XH))))))))))),
+    (Npos (XI (XI (XO (XO (XI (XO XH)))))))), (Npos (XI (XI (XO XH))))),
+    (Npos (XI (XI (XI (XI (XI (XO (XO (XI (XI (XI
+    XH)))))))))))) :: ((((((Npos (XO (XI (XO (XO (XO (XI (XO (XI (XI (XI
+    XH))))))))))), (Npos (XO (XI (XI (XO (XI (XO (XO (XO XH)))))))))), (Npos
+    (XI (XI (XO (XO (XI (XO XH)))))))), (Npos (XI (XI (XO XH))))), (Npos (XI
+    (XI (XO (XI (XI (XI (XO (XI (XI (XI XH)))))))))))) :: ((((((Npos (XI (XI
+    (XO (XI (XI (XI (XO (XI (XI (XI XH))))))))))), (Npos (XO (XO (XI (XO (XO
+    (XO (XI (XO (XO XH))))))))))), (Npos (XI (XI (XO (XO (XI (XO XH)))))))),
+    (Npos (XI (XI (XO XH))))), (Npos (XI (XI (XO (XO (XI (XO (XI (XI (XI (XI
+    XH)))))))))))) :: ((((((Npos (XI (XO (XI (XO (XI (XO (XI (XI (XI (XI
+    XH))))))))))), (Npos (XI (XO (XI (XO (XO (XO (XO (XO (XI XH))))))))))),
+    (Npos (XI (XI (XO (XO (XI (XO XH)))))))), (Npos (XI (XI (XO XH))))),
+    (Npos (XI (XO (XI (XI (XO (XI (XI (XI (XI (XI
+    XH)))))))))))) :: ((((((Npos (XO (XO (XO (XI (XI (XI (XI (XI (XI (XI
+    XH))))))))))), (Npos (XI (XI (XI (XI (XO (XO (XO (XI (XI XH))))))))))),
+    (Npos (XI (XO (XO (XI (XI (XO XH)))))))), (Npos (XI (XI (XO XH))))),
+    (Npos (XI (XO (XI (XO (XI (XO (XO (XO (XO (XO (XO
+    XH))))))))))))) :: ((((((Npos (XO (XI (XI (XO (XI (XO (XO (XO (XO (XO (XO
+    XH)))))))))))), (Npos (XO (XI (XO (XI (XI (XI (XI (XI XH)))))))))), (Npos
+    (XI (XO (XO (XI (XI (XO XH)))))))), (Npos (XI (XI (XO XH))))), (Npos (XI
+    (XI (XO (XO (XI (XI (XO (XO (XO (XO (XO XH))))))))))))) :: ((((((Npos (XI
+    (XI (XI (XO (XI (XI (XO (XO (XO (XO (XO XH)))))))))))), (Npos (XO (XO (XI
+    (XO (XI (XI (XI (XO (XO XH))))))))))), (Npos (XI (XO (XO (XI (XI (XO
+    XH)))))))), (Npos (XI (XI (XO XH))))), (Npos (XI (XI (XO (XO (XI (XO (XI
+    (XO (XO (XO (XO XH))))))))))))) :: ((((((Npos (XI (XO (XI (XI (XO (XO (XI
+    (XO (XO (XO (XO XH)))))))))))), (Npos (XO (XI (XO (XI (XI (XO (XO (XO
+    XH)))))))))), (Npos (XI (XO (XO (XI (XI (XO XH)))))))), (Npos (XI (XI (XO
+    XH))))), (Npos (XI (XO (XO (XI (XO (XI (XI (XO (XO (XO (XO
+    XH))))))))))))) :: ((((((Npos (XO (XO (XO (XI (XO (XI (XI (XO (XO (XO (XO
+    XH)))))))))))), (Npos (XI (XO (XI (XO (XI (XI (XO (XO XH)))))))))), (Npos
+    (XI (XO (XO (XI (XI (XO XH)))))))), (Npos (XI (XI (XO XH))))), (Npos (XI
+    (XI (XO (XO (XO (XO (XO (XI (XO (XO (XO XH))))))))))))) :: ((((((Npos (XI
+    (XI (XO (XO (XI (XO (XO (XI (XO (XO (XO XH)))))))))))), (Npos (XO (XI (XO
+    (XI (XI (XO (XI (XO (XI XH))))))))))), (Npos (XI (XO (XO (XI (XI (XO
+    XH)))))))), (Npos (XI (XI (XO XH))))), (Npos (XI (XO (XI (XI (XO (XI (XO
+    (XI (XO (XO (XO XH))))))))))))) :: ((((((Npos (XI (XO (XO (XI (XO (XI (XO
+    (XI (XO (XO (XO XH)))))))))))), (Npos (XO (XI (XO (XI (XI (XI (XO (XI
+    XH)))))))))), (Npos (XI (XO (XO (XI (XI (XO XH)))))))), (Npos (XI (XI (XO
+    XH))))), (Npos (XI (XI (XO (XO (XO (XO (XI (XI (XO (XO (XO
+    XH))))))))))))) :: ((((((Npos (XI (XI (XI (XO (XO (XO (XI (XI (XO (XO (XO
+    XH)))))))))))), (Npos (XO (XI (XI (XI (XO (XO (XO (XI (XO XH))))))))))),
+    (Npos (XI (XO (XO (XI (XI (XO XH)))))))), (Npos (XI (XI (XO XH))))),
+    (Npos (XI (XO (XO (XO (XO (XI (XI (XI (XO (XO (XO
+    XH))))))))))))) :: ((((((Npos (XO (XI (XI (XO (XO (XI (XI (XI (XO (XO (XO
+    XH)))))))))))), (Npos (XO (XI (XO (XO (XI (XO XH)))))))), (Npos (XI (XO
+    (XO (XO (XO (XI XH)))))))), (Npos (XI (XI (XO XH))))), (Npos (XI (XI (XI
+    (XO (XO (XO (XO (XO (XI (XO (XO XH))))))))))))) :: ((((((Npos (XI (XI (XO
+    (XI (XO (XO (XO (XO (XI (XO (XO XH)))))))))))), (Npos (XO (XO (XI (XI (XO
+    (XI (XO (XI XH)))))))))), (Npos (XI (XO (XO (XO (XO (XI XH)))))))), (Npos
+    (XI (XI (XO XH))))), (Npos (XI (XI (XO (XI (XO (XI (XO (XO (XI (XO (XO
+    XH))))))))))))) :: ((((((Npos (XI (XI (XO (XO (XO (XI (XO (XO (XI (XO (XO
+    XH)))))))))))), (Npos (XO (XI (XO (XI (XI (XI (XO (XI XH)))))))))), (Npos
+    (XI (XO (XO (XO (XO (XI XH)))))))), (Npos (XI (XI (XO XH))))), (Npos (XI
+    (XI (XO (XO (XO (XO (XI (XO (XI (XO (XO XH))))))))))))) :: ((((((Npos (XI
+    (XI (XI (XI (XI (XI (XO (XO (XI (XO (XO XH)))))))))))), (Npos (XI (XI (XO
+    (XI (XI (XO (XO (XO XH)))))))))), (Npos (XI (XO (XO (XO (XO (XI
+    XH)))))))), (Npos (XI (XI (XO XH))))), (Npos (XI (XI (XI (XI (XI (XO (XI
+    (XO (XI (XO (XO XH))))))))))))) :: ((((((Npos (XO (XO (XO (XI (XI (XO (XI
+    (XO (XI (XO (XO XH)))))))))))), (Npos (XO (XI (XO (XI (XI (XO (XO (XO (XO
+    XH))))))))))), (Npos (XI (XO (XO (XO (XO (XI XH)))))))), (Npos (XI (XI
+    (XO XH))))), (Npos (XI (XI (XI (XO (XI (XI (XI (XO (XI (XO (XO
+    XH))))))))))))) :: ((((((Npos (XO (XO (XO (XO (XI (XI (XI (XO (XI (XO (XO
+    XH)))))))))))), (Npos (XI (XO (XI (XI (XI (XI (XO XH))))))))), (Npos (XI
+    (XO (XO (XO (XO (XI XH)))))))), (Npos (XI (XI (XO XH))))), (Npos (XI (XI
+    (XI (XI (XO (XO (XO (XI (XI (XO (XO XH))))))))))))) :: ((((((Npos (XI (XI
+    (XI (XI (XO (XO (XO (XI (XI (XO (XO XH)))))))))))), (Npos (XO (XI (XI (XO
+    (XI (XI (XO (XI XH)))))))))), (Npos (XI (XO (XO (XO (XO (XI XH)))))))),
+    (Npos (XI (XI (XO XH))))), (Npos (XI (XO (XI (XI (XO (XI (XO (XI (XI (XO
+    (XO XH))))))))))))) :: ((((((Npos (XI (XO (XO (XI (XO (XI (XO (XI (XI (XO
+    (XO XH)))))))))))), (Npos (XO (XO (XO (XO (XI (XO (XO (XI (XI
+    XH))))))))))), (Npos (XI (XO (XO (XO (XO (XI XH)))))))), (Npos (XI (XI
+    (XO XH))))), (Npos (XI (XI (XI (XO (XO (XO (XI (XI (XI (XO (XO
+    XH))))))))))))) :: ((((((Npos (XO (XI (XI (XO (XO (XO (XI (XI (XI (XO (XO
+    XH)))))))))))), (Npos XH)), (Npos (XI (XO (XO (XO (XO (XI XH)))))))),
+    (Npos (XI (XI (XO XH))))), (Npos (XI (XI (XO (XO (XO (XI (XI (XI (XI (XO
+    (XO XH))))))))))))) :: ((((((Npos (XO (XO (XO (XO (XO (XI (XI (XI (XI (XO
+    (XO XH)))))))))))), (Npos (XI (XI (XI (XO (XO (XI (XO XH))))))))), (Npos
+    (XI (XO (XO (XO (XO (XI XH)))))))), (Npos (XI (XI (XO XH))))), (Npos (XI
+    (XO (XI (XI (XI (XI (XI (XI (XI (XO (XO XH))))))))))))) :: ((((((Npos (XI
+    (XO (XI (XO (XO (XO (XO (XO (XO (XI (XO XH)))))))))))), (Npos (XO (XO (XO
+    (XO (XI (XO (XO (XO XH)))))))))), (Npos (XI (XO (XO (XO (XO (XI
+    XH)))))))), (Npos (XI (XI (XO XH))))), (Npos (XI (XO (XO (XO (XO (XI (XO
+    (XO (XO (XI (XO XH))))))))))))) :: ((((((Npos (XI (XO (XO (XI (XO (XI (XO
+    (XO (XO (XI (XO XH)))))))))))), (Npos (XI (XO (XO (XO (XI (XO (XI
+    XH))))))))), (Npos (XI (XO (XI (XO (XO (XI XH)))))))), (Npos (XI (XI (XO
+    XH))))), (Npos (XI (XO (XO (XI (XO (XO (XI (XO (XO (XI (XO
+    XH))))))))))))) :: ((((((Npos (XO (XO (XO (XO (XI (XO (XI (XO (XO (XI (XO
+    XH)))))))))))), (Npos (XI (XI (XI (XI (XI (XO (XO (XI (XI XH))))))))))),
+    (Npos (XI (XO (XI (XO (XO (XI XH)))))))), (Npos (XI (XI (XO XH))))),
+    (Npos (XI (XI (XI (XI (XO (XI (XI (XO (XO (XI (XO
+    XH))))))))))))) :: ((((((Npos (XO (XO (XI (XI (XO (XI (XI (XO (XO (XI (XO
+    XH)))))))))))), (Npos (XO (XI (XO (XO (XO (XO (XO (XI XH)))))))))), (Npos
+    (XI (XO (XI (XO (XO (XI XH)))))))), (Npos (XI (XI (XO XH))))), (Npos (XI
+    (XI (XO (XI (XO (XO (XO (XI (XO (XI (XO XH))))))))))))) :: ((((((Npos (XI
+    (XO (XI (XI (XO (XO (XO (XI (XO (XI (XO XH)))))))))))), (Npos (XI (XO (XI
+    (XI (XO (XO (XO (XI (XO XH))))))))))), (Npos (XI (XO (XI (XO (XO (XI
+    XH)))))))), (Npos (XI (XI (XO XH))))), (Npos (XI (XI (XO (XI (XO (XI (XO
+    (XI (XO (XI (XO XH))))))))))))) :: ((((((Npos (XI (XO (XO (XO (XI (XI (XO
+    (XI (XO (XI (XO XH)))))))))))), (Npos (XI (XO (XI (XI (XI (XO (XO (XI (XO
+    XH))))))))))), (Npos (XI (XO (XI (XO (XO (XI XH)))))))), (Npos (XI (XI
+    (XO XH))))), (Npos (XI (XI (XI (XI (XO (XO (XI (XI (XO (XI (XO
+    XH))))))))))))) :: ((((((Npos (XO (XO (XI (XO (XI (XO (XI (XI (XO (XI (XO
+    XH)))))))))))), (Npos (XI (XI (XI (XI (XO (XI (XO (XI XH)))))))))), (Npos
+    (XI (XO (XI (XO (XO (XI XH)))))))), (Npos (XI (XI (XO XH))))), (Npos (XI
+    (XO (XO (XO (XI (XI (XI (XI (XO (XI (XO XH))))))))))))) :: ((((((Npos (XO
+    (XI (XO (XO (XI (XI (XI (XI (XO (XI (XO XH)))))))))))), (Npos (XI (XO (XO
+    (XI (XI (XO (XO (XO (XI XH))))))))))), (Npos (XI (XI (XI (XO (XO (XI
+    XH)))))))), (Npos (XI (XI (XO XH))))), (Npos (XI (XO (XO (XO (XI (XO (XO
+    (XO (XI (XI (XO XH))))))))))))) :: ((((((Npos (XI (XI (XI (XI (XO (XO (XO
+    (XO (XI (XI (XO XH)))))))))))), (Npos (XO (XO (XI (XI (XO (XO (XI (XO (XO
+    XH))))))))))), (Npos (XI (XI (XI (XO (XO (XI XH)))))))), (Npos (XI (XI
+    (XO XH))))), (Npos (XI (XO (XI (XI (XO (XI (XO (XO (XI (XI (XO
+    XH))))))))))))) :: ((((((Npos (XI (XI (XO (XI (XI (XI (XO (XO (XI (XI (XO
+    XH)))))))))))), (Npos (XI (XO (XO (XI (XO (XO (XO (XO (XI XH))))))))))),
+    (Npos (XI (XI (XO (XI (XO (XI XH)))))))), (Npos (XI (XI (XO XH))))),
+    (Npos (XI (XO (XI (XI (XI (XO (XI (XO (XI (XI (XO
+    XH))))))))))))) :: ((((((Npos (XO (XI (XO (XI (XI (XO (XI (XO (XI (XI (XO
+    XH)))))))))))), (Npos (XI (XI (XO (XI (XO (XI (XO (XI (XI XH))))))))))),
+    (Npos (XI (XI (XO (XI (XO (XI XH)))))))), (Npos (XI (XI (XO XH))))),
+    (Npos (XI (XI (XO (XI (XI (XI (XI (XO (XI (XI (XO
+    XH))))))))))))) :: ((((((Npos (XO (XI (XO (XI (XI (XI (XI (XO (XI (XI (XO
+    XH)))))))))))), (Npos (XO (XO (XO (XO (XO (XI (XI (XO (XI XH))))))))))),
+    (Npos (XI (XI (XO (XI (XO (XI XH)))))))), (Npos (XI (XI (XO XH))))),
+    (Npos (XI (XI (XO (XI (XI (XO (XO (XI (XI (XI (XO
+    XH))))))))))))) :: ((((((Npos (XI (XI (XO (XO (XO (XI (XO (XI (XI (XI (XO
+    XH)))))))))))), (Npos (XI (XI (XO (XO (XI (XI (XI (XO (XO XH))))))))))),
+    (Npos (XI (XI (XO (XI (XO (XI XH)))))))), (Npos (XI (XI (XO XH))))),
+    (Npos (XI (XI (XO (XO (XO (XO (XI (XI (XI (XI (XO
+    XH))))))))))))) :: ((((((Npos (XI (XI (XI (XO (XO (XO (XI (XI (XI (XI (XO
+    XH)))))))))))), (Npos (XI (XO (XO (XI (XO (XO (XO (XO XH)))))))))), (Npos
+    (XI (XO (XI (XI (XO (XI XH)))))))), (Npos (XI (XI (XO XH))))), (Npos (XI
+    (XO (XO (XI (XO (XI (XI (XI (XI (XI (XO XH))))))))))))) :: ((((((Npos (XO
+    (XO (XO (XO (XI (XI (XI (XI (XI (XI (XO XH)))))))))))), (Npos (XO (XO (XO
+    (XO (XI (XO (XI (XI (XI XH))))))))))), (Npos (XI (XO (XI (XI (XO (XI
+    XH)))))))), (Npos (XI (XI (XO XH))))), (Npos (XI (XO (XO (XO (XI (XO (XO
+    (XO (XO (XO (XI XH))))))))))))) :: ((((((Npos (XI (XO (XI (XI (XI (XO (XO
+    (XO (XO (XO (XI XH)))))))))))), (Npos (XO (XO (XI (XI (XI (XO (XI (XI (XI
+    XH))))))))))), (Npos (XI (XO (XO (XO (XI (XI XH)))))))), (Npos (XI (XI
+    (XO XH))))), (Npos (XI (XO (XO (XO (XO (XO (XI (XO (XO (XO (XI
+    XH))))))))))))) :: ((((((Npos (XI (XI (XI (XI (XO (XO (XI (XO (XO (XO (XI
+    XH)))))))))))), (Npos (XI (XI (XO (XI (XI (XI (XI (XI XH)))))))))), (Npos
+    (XI (XO (XO (XO (XI (XI XH)))))))), (Npos (XI (XI (XO XH))))), (Npos (XI
+    (XI (XO (XO (XI (XI (XI (XO (XO (XO (XI XH))))))))))))) :: ((((((Npos (XO
+    (XI (XO (XO (XI (XI (XI (XO (XO (XO (XI XH)))))))))))), (Npos (XO (XO (XO
+    (XO (XO (XO (XO (XI (XO XH))))))))))), (Npos (XI (XO (XO (XO (XI (XI
+    XH)))))))), (Npos (XI (XI (XO XH))))), (Npos (XI (XO (XI (XO (XI (XO (XO
+    (XI (XO (XO (XI XH))))))))))))) :: ((((((Npos (XO (XO (XO (XI (XI (XO (XO
+    (XI (XO (XO (XI XH)))))))))))), (Npos (XI (XI (XI XH))))), (Npos (XI (XO
+    (XO (XO (XI (XI XH)))))))), (Npos (XI (XI (XO XH))))), (Npos (XI (XI (XO
+    (XI (XI (XI (XO (XI (XO (XO (XI XH))))))))))))) :: ((((((Npos (XI (XO (XO
+    (XO (XO (XO (XI (XI (XO (XO (XI XH)))))))))))), (Npos (XI (XI (XO (XI (XI
+    (XO (XO (XI (XO XH))))))))))), (Npos (XI (XO (XO (XO (XI (XI XH)))))))),
+    (Npos (XI (XI (XO XH))))), (Npos (XI (XI (XO (XO (XO (XI (XI (XI (XO (XO
+    (XI XH))))))))))))) :: ((((((Npos (XI (XI (XO (XO (XO (XI (XI (XI (XO (XO
+    (XI XH)))))))))))), (Npos (XO (XO (XO (XI XH)))))), (Npos (XI (XI (XI (XI
+    (XI (XI XH)))))))), (Npos (XI (XI (XO XH))))), (Npos (XI (XI (XO (XO (XI
+    (XO (XO (XO (XI (XO (XI XH))))))))))))) :: ((((((Npos (XO (XO (XO (XO (XI
+    (XO (XO (XO (XI (XO (XI XH)))))))))))), (Npos (XI (XO (XI (XI (XO (XI (XI
+    (XO (XI XH))))))))))), (Npos (XI (XI (XI (XI (XI (XI XH)))))))), (Npos
+    (XI (XI (XO XH))))), (Npos (XI (XI (XI (XI (XI (XI (XO (XO (XI (XO (XI
+    XH))))))))))))) :: ((((((Npos (XI (XI (XO (XI (XI (XI (XO (XO (XI (XO (XI
+    XH)))))))))))), (Npos (XO (XO (XO (XO (XI (XI (XI XH))))))))), (Npos (XI
+    (XI (XI (XI (XI (XI XH)))))))), (Npos (XI (XI (XO XH))))), (Npos (XI (XO
+    (XO (XI (XO (XI (XI (XO (XI (XO (XI XH))))))))))))) :: ((((((Npos (XI (XI
+    (XI (XI (XI (XO (XI (XO (XI (XO (XI XH)))))))))))), (Npos (XO (XO (XO (XO
+    (XI (XO (XI (XI (XO XH))))))))))), (Npos (XI (XI (XI (XI (XI (XI
+    XH)))))))), (Npos (XI (XI (XO XH))))), (Npos (XI (XO (XI (XI (XO (XO (XO
+    (XI (XI (XO (XI XH))))))))))))) :: ((((((Npos (XO (XI (XO (XI (XO (XO (XO
+    (XI (XI (XO (XI XH)))))))))))), (Npos (XI (XO (XI (XI (XI (XO XH)))))))),
+    (Npos (XI (XI (XI (XI (XI (XI XH)))))))), (Npos (XI (XI (XO XH))))),
+    (Npos (XI (XI (XI (XO (XI (XI (XO (XI (XI (XO (XI
+    XH))))))))))))) :: ((((((Npos (XO (XI (XI (XI (XO (XI (XO (XI (XI (XO (XI
+    XH)))))))))))), (Npos (XI (XI (XI (XO (XI (XO (XO (XI (XI XH))))))))))),
+    (Npos (XI (XI (XI (XI (XI (XI XH)))))))), (Npos (XI (XI (XO XH))))),
+    (Npos (XI (XI (XO (XI (XI (XO (XI (XI (XI (XO (XI
+    XH))))))))))))) :: ((((((Npos (XI (XI (XO (XO (XI (XO (XI (XI (XI (XO (XI
+    XH)))))))))))), (Npos (XI (XI (XO (XI (XI (XI (XI (XO (XO XH))))))))))),
+    (Npos (XI (XI (XI (XI (XI (XI XH)))))))), (Npos (XI (XI (XO XH))))),
+    (Npos (XI (XI (XI (XI (XI (XI (XI (XI (XI (XO (XI
+    XH))))))))))))) :: ((((((Npos (XI (XI (XO (XI (XI (XI (XI (XI (XI (XO (XI
+    XH)))))))))))), (Npos (XO (XI (XI (XI (XO (XI (XO XH))))))))), (Npos (XI
+    (XI (XI (XI (XI (XI XH)))))))), (Npos (XI (XI (XO XH))))), (Npos (XI (XI
+    (XI (XO (XO (XI (XO (XO (XO (XI (XI XH))))))))))))) :: ((((((Npos (XO (XO
+    (XO (XO (XO (XI (XO (XO (XO (XI (XI XH)))))))))))), (Npos (XI (XI (XI (XO
+    (XO (XO (XO (XI (XO XH))))))))))), (Npos (XI (XI (XI (XI (XI (XI
+    XH)))))))), (Npos (XI (XI (XO XH))))), (Npos (XI (XI (XO (XI (XO (XO (XI
+    (XO (XO (XI (XI XH))))))))))))) :: ((((((Npos (XO (XI (XO (XI (XO (XO (XI
+    (XO (XO (XI (XI XH)))))))))))), (Npos (XO (XO (XI (XO (XI (XI (XO (XO (XI
+    XH))))))))))), (Npos (XI (XI (XI (XI (XI (XI XH)))))))), (Npos (XI (XI
+    (XO XH))))), (Npos (XI (XO (XI (XO (XI (XI (XI (XO (XO (XI (XI
+    XH))))))))))))) :: ((((((Npos (XI (XO (XO (XO (XI (XI (XI (XO (XO (XI (XI
+    XH)))))))))))), (Npos (XO (XO (XO (XI (XI XH))))))), (Npos (XI (XI (XI
+    (XI (XI (XI XH)))))))), (Npos (XI (XI (XO XH))))), (Npos (XI (XI (XO (XI
+    (XI (XO (XO (XI (XO (XI (XI XH))))))))))))) :: ((((((Npos (XI (XI (XI (XO
+    (XO (XI (XO (XI (XO (XI (XI XH)))))))))))), (Npos (XI (XO (XI (XO (XO (XI
+    (XI (XI XH)))))))))), (Npos (XI (XI (XI (XI (XI (XI XH)))))))), (Npos (XI
+    (XI (XO XH))))), (Npos (XI (XO (XO (XO (XI (XO (XI (XI (XO (XI (XI
+    XH))))))))))))) :: ((((((Npos (XO (XO (XO (XO (XI (XO (XI (XI (XO (XI (XI
+    XH)))))))))))), (Npos (XO (XI (XO (XO (XI (XO (XI XH))))))))), (Npos (XI
+    (XI (XI (XI (XI (XI XH)))))))), (Npos (XI (XI (XO XH))))), (Npos (XI (XO
+    (XO (XI (XI (XI (XI (XI (XO (XI (XI XH))))))))))))) :: ((((((Npos (XO (XO
+    (XO (XO (XO (XO (XO (XO (XI (XI (XI XH)))))))))))), (Npos (XO (XO (XI (XI
+    (XI (XI XH)))))))), (Npos (XI (XI (XI (XI (XI (XI XH)))))))), (Npos (XI
+    (XI (XO XH))))), (Npos (XI (XO (XO (XI (XO (XI (XO (XO (XI (XI (XI
+    XH))))))))))))) :: ((((((Npos (XI (XI (XO (XI (XO (XI (XO (XO (XI (XI (XI
+    XH)))))))))))), (Npos (XO (XI (XO (XO (XO (XI (XO (XO (XO XH))))))))))),
+    (Npos (XI (XI (XI (XI (XI (XI XH)))))))), (Npos (XI (XI (XO XH))))),
+    (Npos (XI (XI (XO (XO (XI (XO (XI (XO (XI (XI (XI
+    XH))))))))))))) :: ((((((Npos (XO (XO (XI (XO (XI (XO (XI (XO (XI (XI (XI
+    XH)))))))))))), (Npos (XO (XI (XO (XI (XI (XI (XO (XI (XI XH))))))))))),
+    (Npos (XI (XI (XO (XO (XO (XO (XO XH))))))))), (Npos (XI (XI (XO XH))))),
+    (Npos (XI (XI (XI (XI (XI (XI (XI (XO (XI (XI (XI
+    XH))))))))))))) :: ((((((Npos (XO (XI (XO (XO (XO (XO (XO (XI (XI (XI (XI
+    XH)))))))))))), (Npos (XO (XI (XI (XO (XO (XO (XO (XO XH)))))))))), (Npos
+    (XI (XI (XO (XO (XO (XO (XO XH))))))))), (Npos (XI (XI (XO XH))))), (Npos
+    (XI (XO (XI (XI (XO (XI (XO (XI (XI (XI (XI XH))))))))))))) :: ((((((Npos
+    (XI (XI (XI (XI (XO (XI (XO (XI (XI (XI (XI XH)))))))))))), (Npos (XI (XI
+    (XI (XI (XI (XO (XO (XI (XI XH))))))))))), (Npos (XI (XI (XO (XO (XO (XO
+    (XO XH))))))))), (Npos (XI (XI (XO XH))))), (Npos (XI (XO (XO (XI (XI (XO
+    (XI (XI (XI (XI (XI XH))))))))))))) :: ((((((Npos (XI (XO (XI (XO (XO (XI
+    (XI (XI (XI (XI (XI XH)))))))))))), (Npos (XI (XO (XI (XI (XI (XI (XO (XI
+    (XI XH))))))))))), (Npos (XI (XI (XO (XO (XO (XO (XO XH))))))))), (Npos
+    (XI (XI (XO XH))))), (Npos (XI (XI (XI (XI (XO (XO (XO (XO (XO (XO (XO
+    (XO XH)))))))))))))) :: ((((((Npos (XO (XO (XO (XO (XI (XO (XO (XO (XO
+    (XO (XO (XO XH))))))))))))), (Npos (XO (XI (XI (XO (XI (XO (XI (XI (XO
+    XH))))))))))), (Npos (XI (XO (XO (XI (XO (XO (XO XH))))))))), (Npos (XI
+    (XI (XO XH))))), (Npos (XI (XI (XI (XI (XI (XI (XO (XO (XO (XO (XO (XO
+    XH)))))))))))))) :: ((((((Npos (XI (XO (XI (XO (XO (XO (XI (XO (XO (XO
+    (XO (XO XH))))))))))))), (Npos (XI (XI (XI (XO (XO (XO (XI (XO (XO
+    XH))))))))))), (Npos (XI (XO (XO (XI (XO (XO (XO XH))))))))), (Npos (XI
+    (XI (XO XH))))), (Npos (XI (XI (XO (XO (XI (XI (XI (XO (XO (XO (XO (XO
+    XH)))))))))))))) :: ((((((Npos (XI (XI (XI (XI (XO (XI (XI (XO (XO (XO
+    (XO (XO XH))))))))))))), (Npos (XO (XI (XI (XI (XO (XO (XO (XO (XI
+    XH))))))))))), (Npos (XI (XO (XO (XI (XO (XO (XO XH))))))))), (Npos (XI
+    (XI (XO XH))))), (Npos (XI (XO (XI (XI (XI (XO (XO (XI (XO (XO (XO (XO
+    XH)))))))))))))) :: ((((((Npos (XO (XO (XI (XI (XI (XO (XO (XI (XO (XO
+    (XO (XO XH))))))))))))), (Npos (XI (XO (XI (XO (XO XH))))))), (Npos (XI
+    (XO (XO (XI (XO (XO (XO XH))))))))), (Npos (XI (XI (XO XH))))), (Npos (XI
+    (XO (XO (XI (XO (XO (XI (XI (XO (XO (XO (XO
+    XH)))))))))))))) :: ((((((Npos (XO (XI (XI (XI (XI (XO (XI (XI (XO (XO
+    (XO (XO XH))))))))))))), (Npos (XO (XI (XI (XO (XI (XI (XI (XI (XO
+    XH))))))))))), (Npos (XI (XO (XO (XI (XO (XO (XO XH))))))))), (Npos (XI
+    (XI (XO XH))))), (Npos (XI (XI (XO (XI (XO (XO (XO (XO (XI (XO (XO (XO
+    XH)))))))))))))) :: ((((((Npos (XI (XO (XI (XI (XO (XO (XO (XO (XI (XO
+    (XO (XO XH))))))))))))), (Npos (XI (XO (XO (XI (XO (XO (XO (XO (XI
+    XH))))))))))), (Npos (XI (XO (XO (XI (XO (XO (XO XH))))))))), (Npos (XI
+    (XI (XO XH))))), (Npos (XI (XO (XO (XI (XI (XI (XO (XO (XI (XO (XO (XO
+    XH)))))))))))))) :: ((((((Npos (XO (XI (XO (XO (XO (XO (XI (XO (XI (XO
+    (XO (XO XH))))))))))))), (Npos (XO (XO (XO (XI (XO (XI XH)))))))), (Npos
+    (XI (XI (XO (XI (XO (XO (XO XH))))))))), (Npos (XI (XI (XO XH))))), (Npos
+    (XI (XI (XI (XI (XO (XI (XI (XO (XI (XO (XO (XO
+    XH)))))))))))))) :: ((((((Npos (XO (XO (XI (XO (XI (XI (XI (XO (XI (XO
+    (XO (XO XH))))))))))))), (Npos (XO (XO (XI (XI (XI (XO (XI (XI
+    XH)))))))))), (Npos (XI (XI (XO (XI (XO (XO (XO XH))))))))), (Npos (XI
+    (XI (XO XH))))), (Npos (XI (XO (XO (XO (XO (XI (XO (XI (XI (XO (XO (XO
+    XH)))))))))))))) :: ((((((Npos (XI (XO (XO (XO (XO (XI (XO (XI (XI (XO
+    (XO (XO XH))))))))))))), (Npos (XI (XO (XO (XO (XI (XI XH)))))))), (Npos
+    (XI (XO (XI (XO (XI (XO (XO XH))))))))), (Npos (XI (XI (XO XH))))), (Npos
+    (XI (XI (XI (XO (XI (XO (XI (XI (XI (XO (XO (XO
+    XH)))))))))))))) :: ((((((Npos (XI (XI (XI (XO (XI (XO (XI (XI (XI (XO
+    (XO (XO XH))))))))))))), (Npos (XI (XO (XO (XI (XI (XI (XO (XO
+    XH)))))))))), (Npos (XI (XO (XI (XO (XI (XO (XO XH))))))))), (Npos (XI
+    (XI (XO XH))))), (Npos (XI (XO (XI (XI (XO (XO (XO (XO (XO (XI (XO (XO
+    XH)))))))))))))) :: ((((((Npos (XO (XI (XO (XO (XI (XO (XO (XO (XO (XI
+    (XO (XO XH))))))))))))), (Npos (XO (XI (XI (XO (XO (XI XH)))))))), (Npos
+    (XI (XO (XI (XO (XI (XO (XO XH))))))))), (Npos (XI (XI (XO XH))))), (Npos
+    (XI (XI (XI (XO (XO (XO (XI (XO (XO (XI (XO (XO
+    XH)))))))))))))) :: ((((((Npos (XI (XO (XO (XI (XO (XO (XI (XO (XO (XI
+    (XO (XO XH))))))))))))), (Npos (XI (XO (XI (XO (XI (XI (XI (XI
+    XH)))))))))), (Npos (XI (XO (XI (XO (XI (XO (XO XH))))))))), (Npos (XI
+    (XI (XO XH))))), (Npos (XI (XO (XI (XI (XI (XI (XI (XO (XO (XI (XO (XO
+    XH)))))))))))))) :: ((((((Npos (XI (XI (XO (XI (XI (XI (XI (XO (XO (XI
+    (XO (XO XH))))))))))))), (Npos (XO (XO (XI (XI (XO (XO (XI (XO
+    XH)))))))))), (Npos (XI (XO (XI (XO (XI (XO (XO XH))))))))), (Npos (XI
+    (XI (XO XH))))), (Npos (XI (XI (XI (XI (XO (XI (XO (XI (XO (XI (XO (XO
+    XH)))))))))))))) :: ((((((Npos (XO (XO (XI (XI (XO (XI (XO (XI (XO (XI
+    (XO (XO XH))))))))))))), (Npos (XO (XI (XO (XO (XI (XO (XO (XO (XI
+    XH))))))))))), (Npos (XI (XO (XI (XO (XI (XO (XO XH))))))))), (Npos (XI
+    (XI (XO XH))))), (Npos (XI (XI (XI (XI (XI (XO (XI (XI (XO (XI (XO (XO
+    XH)))))))))))))) :: ((((((Npos (XO (XI (XI (XO (XO (XI (XI (XI (XO (XI
+    (XO (XO XH))))))))))))), (Npos (XI (XI (XO (XO (XO (XI XH)))))))), (Npos
+    (XI (XO (XI (XO (XI (XO (XO XH))))))))), (Npos (XI (XI (XO XH))))), (Npos
+    (XI (XO (XO (XI (XI (XO (XO (XO (XI (XI (XO (XO
+    XH)))))))))))))) :: ((((((Npos (XI (XO (XI (XO (XO (XI (XO (XO (XI (XI
+    (XO (XO XH))))))))))))), (Npos (XO (XI (XO (XO (XI (XO (XO (XI (XO
+    XH))))))))))), (Npos (XI (XO (XI (XO (XI (XO (XO XH))))))))), (Npos (XI
+    (XI (XO XH))))), (Npos (XI (XI (XI (XO (XI (XO (XI (XO (XI (XI (XO (XO
+    XH)))))))))))))) :: ((((((Npos (XO (XI (XO (XI (XI (XO (XI (XO (XI (XI
+    (XO (XO XH))))))))))))), (Npos (XO (XI (XO (XI (XI (XO (XO (XO (XI
+    XH))))))))))), (Npos (XI (XO (XI (XO (XI (XO (XO XH))))))))), (Npos (XI
+    (XI (XO XH))))), (Npos (XI (XI (XO (XI (XO (XO (XO (XI (XI (XI (XO (XO
+    XH)))))))))))))) :: ((((((Npos (XO (XO (XO (XO (XI (XO (XO (XI (XI (XI
+    (XO (XO XH))))))))))))), (Npos (XI (XO (XI (XO (XO XH))))))), (Npos (XI
+    (XI (XI (XO (XI (XO (XO XH))))))))), (Npos (XI (XI (XO XH))))), (Npos (XI
+    (XI (XO (XO (XO (XO (XI (XI (XI (XI (XO (XO
+    XH)))))))))))))) :: ((((((Npos (XI (XI (XI (XO (XO (XO (XI (XI (XI (XI
+    (XO (XO XH))))))))))))), (Npos (XI (XI (XI (XO (XI (XO (XI (XI
+    XH)))))))))), (Npos (XI (XI (XI (XO (XI (XO (XO XH))))))))), (Npos (XI
+    (XI (XO XH))))), (Npos (XI (XO (XO (XI (XI (XI (XI (XI (XI (XI (XO (XO
+    XH)))))))))))))) :: ((((((Npos (XO (XO (XI (XI (XI (XI (XI (XI (XI (XI
+    (XO (XO XH))))))))))))), (Npos (XO (XI (XI (XI (XI (XO XH)))))))), (Npos
+    (XI (XO (XI (XI (XI (XO (XO XH))))))))), (Npos (XI (XI (XO XH))))), (Npos
+    (XI (XI (XO (XO (XI (XI (XO (XO (XO (XO (XI (XO
+    XH)))))))))))))) :: ((((((Npos (XO (XO (XI (XO (XI (XI (XO (XO (XO (XO
+    (XI (XO XH))))))))))))), (Npos (XI (XO (XO (XI (XO (XI (XI (XO (XI
+    XH))))))))))), (Npos (XI (XO (XI (XI (XI (XO (XO XH))))))))), (Npos (XI
+    (XI (XO XH))))), (Npos (XI (XI (XO (XI (XO (XI (XI (XO (XO (XO (XI (XO
+    XH)))))))))))))) :: ((((((Npos (XI (XO (XO (XI (XO (XI (XI (XO (XO (XO
+    (XI (XO XH))))))))))))), (Npos (XO (XI (XI (XO (XI (XO (XO (XI (XI
+    XH))))))))))), (Npos (XI (XO (XI (XI (XI (XO (XO XH))))))))), (Npos (XI
+    (XI (XO XH))))), (Npos (XI (XI (XI (XI (XI (XO (XO (XI (XO (XO (XI (XO
+    XH)))))))))))))) :: ((((((Npos (XI (XI (XI (XI (XI (XO (XO (XI (XO (XO
+    (XI (XO XH))))))))))))), (Npos (XI (XO (XO (XO (XI (XI (XO (XI (XI
+    XH))))))))))), (Npos (XI (XO (XI (XI (XI (XO (XO XH))))))))), (Npos (XI
+    (XI (XO XH))))), (Npos (XI (XO (XI (XO (XI (XO (XI (XI (XO (XO (XI (XO
+    XH)))))))))))))) :: ((((((Npos (XO (XI (XI (XO (XI (XO (XI (XI (XO (XO
+    (XI (XO XH))))))))))))), (Npos (XI (XI (XO (XO (XI (XO (XI XH))))))))),
+    (Npos (XI (XO (XI (XI (XI (XO (XO XH))))))))), (Npos (XI (XI (XO XH))))),
+    (Npos (XI (XI (XO (XI (XO (XO (XO (XO (XI (XO (XI (XO
+    XH)))))))))))))) :: ((((((Npos (XI (XI (XI (XI (XO (XO (XO (XO (XI (XO
+    (XI (XO XH))))))))))))), (Npos (XI (XO (XI (XO (XI (XO (XI (XO
+    XH)))))))))), (Npos (XI (XO (XI (XI (XI (XO (XO XH))))))))), (Npos (XI
+    (XI (XO XH))))), (Npos (XI (XI (XO (XO (XO (XO (XI (XO (XI (XO (XI (XO
+    XH)))))))))))))) :: ((((((Npos (XI (XO (XO (XI (XO (XO (XI (XO (XI (XO
+    (XI (XO XH))))))))))))), (Npos (XI (XI (XO XH))))), (Npos (XI (XI (XO (XO
+    (XO (XI (XO XH))))))))), (Npos (XI (XI (XO XH))))), (Npos (XI (XI (XO (XO
+    (XO (XO (XO (XI (XI (XO (XI (XO XH)))))))))))))) :: ((((((Npos (XO (XI
+    (XO (XO (XO (XO (XO (XI (XI (XO (XI (XO XH))))))))))))), (Npos (XO (XI
+    (XO (XO (XO (XO (XI (XO (XO XH))))))))))), (Npos (XI (XI (XO (XO (XO (XI
+    (XO XH))))))))), (Npos (XI (XI (XO XH))))), (Npos (XI (XI (XO (XI (XI (XI
+    (XO (XI (XI (XO (XI (XO XH)))))))))))))) :: ((((((Npos (XO (XI (XI (XI
+    (XI (XI (XO (XI (XI (XO (XI (XO XH))))))))))))), (Npos (XO (XI (XI (XI
+    (XO (XI (XI (XI XH)))))))))), (Npos (XI (XI (XO (XO (XO (XI (XO
+    XH))))))))), (Npos (XI (XI (XO XH))))), (Npos (XI (XI (XI (XO (XI (XI (XI
+    (XI (XI (XO (XI (XO XH)))))))))))))) :: ((((((Npos (XI (XO (XI (XO (XO
+    (XO (XO (XO (XO (XI (XI (XO XH))))))))))))), (Npos (XO (XI (XI (XO (XI
+    (XI (XO (XI (XO XH))))))))))), (Npos (XI (XI (XO (XO (XO (XI (XO
+    XH))))))))), (Npos (XI (XI (XO XH))))), (Npos (XI (XO (XI (XI (XI (XI (XO
+    (XO (XO (XI (XI (XO XH)))))))))))))) :: ((((((Npos (XO (XI (XI (XI (XI
+    (XI (XO (XO (XO (XI (XI (XO XH))))))))))))), (Npos (XO (XO (XI (XI (XI
+    (XI (XI XH))))))))), (Npos (XI (XI (XO (XO (XO (XI (XO XH))))))))), (Npos
+    (XI (XI (XO XH))))), (Npos (XI (XO (XI (XO (XI (XI (XI (XO (XO (XI (XI
+    (XO XH)))))))))))))) :: ((((((Npos (XI (XI (XO (XO (XO (XO (XO (XI (XO
+    (XI (XI (XO XH))))))))))))), (Npos (XI (XI (XO (XO (XO (XO (XI (XI
+    XH)))))))))), (Npos (XI (XI (XI (XO (XO (XI (XO XH))))))))), (Npos (XI
+    (XI (XO XH))))), (Npos (XI (XO (XI (XI (XI (XI (XO (XI (XO (XI (XI (XO
+    XH)))))))))))))) :: ((((((Npos (XI (XI (XI (XI (XI (XI (XO (XI (XO (XI
+    (XI (XO XH))))))))))))), (Npos (XI (XI (XO (XO (XI (XO XH)))))))), (Npos
+    (XI (XI (XI (XO (XO (XI (XO XH))))))))), (Npos (XI (XI (XO XH))))), (Npos
+    (XI (XO (XO (XI (XI (XI (XI (XI (XO (XI (XI (XO
+    XH)))))))))))))) :: ((((((Npos (XO (XO (XO (XI (XO (XO (XO (XO (XI (XI
+    (XI (XO XH))))))))))))), (Npos (XI (XO (XO (XO (XI (XI (XO (XI (XO
+    XH))))))))))), (Npos (XI (XI (XI (XO (XO (XI (XO XH))))))))), (Npos (XI
+    (XI (XO XH))))), (Npos (XI (XO (XO (XO (XO (XO (XI (XO (XI (XI (XI (XO
+    XH)))))))))))))) :: ((((((Npos (XI (XI (XI (XO (XI (XO (XI (XO (XI (XI
+    (XI (XO XH))))))))))))), (Npos (XO (XO (XO (XI (XO (XI (XI (XI
+    XH)))))))))), (Npos (XI (XO (XI (XI (XO (XI (XO XH))))))))), (Npos (XI
+    (XI (XO XH))))), (Npos (XI (XO (XI (XO (XI (XO (XO (XI (XI (XI (XI (XO
+    XH)))))))))))))) :: ((((((Npos (XI (XI (XI (XO (XI (XO (XO (XI (XI (XI
+    (XI (XO XH))))))))))))), (Npos (XO (XI (XI (XO (XI (XO (XI XH))))))))),
+    (Npos (XI (XO (XI (XI (XO (XI (XO XH))))))))), (Npos (XI (XI (XO XH))))),
+    (Npos (XI (XO (XI (XO (XI (XO (XI (XI (XI (XI (XI (XO
+    XH)))))))))))))) :: ((((((Npos (XO (XI (XI (XO (XI (XO (XI (XI (XI (XI
+    (XI (XO XH))))))))))))), (Npos (XI (XO (XO (XO XH)))))), (Npos (XI (XO
+    (XI (XI (XO (XI (XO XH))))))))), (Npos (XI (XI (XO XH))))), (Npos (XI (XI
+    (XO (XO (XI (XO (XO (XO (XO (XO (XO (XI XH)))))))))))))) :: ((((((Npos
+    (XI (XO (XO (XI (XI (XO (XO (XO (XO (XO (XO (XI XH))))))))))))), (Npos
+    (XI (XO (XI (XO (XI (XO (XI (XI XH)))))))))), (Npos (XI (XO (XI (XI (XO
+    (XI (XO XH))))))))), (Npos (XI (XI (XO XH))))), (Npos (XI (XO (XI (XO (XI
+    (XO (XI (XO (XO (XO (XO (XI XH)))))))))))))) :: ((((((Npos (XI (XO (XO
+    (XI (XI (XO (XI (XO (XO (XO (XO (XI XH))))))))))))), (Npos (XI (XI (XI
+    (XO (XO (XO (XO (XO XH)))))))))), (Npos (XI (XI (XO (XO (XI (XI (XO
+    XH))))))))), (Npos (XI (XI (XO XH))))), (Npos (XI (XI (XO (XI (XI (XO (XO
+    (XI (XO (XO (XO (XI XH)))))))))))))) :: ((((((Npos (XO (XO (XO (XI (XI
+    (XO (XO (XI (XO (XO (XO (XI XH))))))))))))), (Npos (XI (XO (XI (XO (XI
+    (XI (XO (XO XH)))))))))), (Npos (XI (XI (XO (XO (XI (XI (XO XH))))))))),
+    (Npos (XI (XI (XO XH))))), (Npos (XI (XO (XO (XI (XI (XO (XI (XI (XO (XO
+    (XO (XI XH)))))))))))))) :: ((((((Npos (XI (XI (XO (XI (XI (XO (XI (XI
+    (XO (XO (XO (XI XH))))))))))))), (Npos (XO (XO (XO (XI (XI (XO (XI (XI
+    (XI XH))))))))))), (Npos (XI (XI (XO (XO (XI (XI (XO XH))))))))), (Npos
+    (XI (XI (XO XH))))), (Npos (XI (XI (XO (XI (XI (XO (XO (XO (XI (XO (XO
+    (XI XH)))))))))))))) :: ((((((Npos (XI (XI (XO (XI (XI (XO (XO (XO (XI
+    (XO (XO (XI XH))))))))))))), (Npos (XI (XI (XO (XI (XI (XI XH)))))))),
+    (Npos (XI (XI (XO (XO (XI (XI (XO XH))))))))), (Npos (XI (XI (XO XH))))),
+    (Npos (XI (XI (XO (XI (XI (XO (XI (XO (XI (XO (XO (XI
+    XH)))))))))))))) :: ((((((Npos (XO (XI (XI (XO (XI (XI (XI (XO (XI (XO
+    (XO (XI XH))))))))))))), (Npos (XO (XO (XO (XI (XO (XI (XI (XO
+    XH)))))))))), (Npos (XI (XI (XO (XO (XI (XI (XO XH))))))))), (Npos (XI
+    (XI (XO XH))))), (Npos (XI (XO (XI (XO (XI (XI (XO (XI (XI (XO (XO (XI
+    XH)))))))))))))) :: ((((((Npos (XI (XO (XI (XI (XI (XI (XO (XI (XI (XO
+    (XO (XI XH))))))))))))), (Npos (XI (XI (XI (XI (XI (XO (XI (XO (XI
+    XH))))))))))), (Npos (XI (XO (XI (XO (XI (XI (XO XH))))))))), (Npos (XI
+    (XI (XO XH))))), (Npos (XI (XO (XI (XI (XI (XI (XI (XI (XI (XO (XO (XI
+    XH)))))))))))))) :: ((((((Npos (XI (XI (XI (XI (XI (XI (XI (XI (XI (XO
+    (XO (XI XH))))))))))))), (Npos (XO (XI (XO (XI (XI (XI XH)))))))), (Npos
+    (XI (XO (XI (XO (XI (XI (XO XH))))))))), (Npos (XI (XI (XO XH))))), (Npos
+    (XI (XI (XI (XI (XI (XI (XO (XO (XO (XI (XO (XI
+    XH)))))))))))))) :: ((((((Npos (XO (XI (XO (XI (XO (XO (XI (XO (XO (XI
+    (XO (XI XH))))))))))))), (Npos (XO (XI (XO (XI (XO (XO (XO (XO (XO
+    XH))))))))))), (Npos (XI (XI (XI (XI (XI (XI (XO XH))))))))), (Npos (XI
+    (XI (XO XH))))), (Npos (XI (XI (XO (XO (XI (XO (XO (XI (XO (XI (XO (XI
+    XH)))))))))))))) :: ((((((Npos (XI (XI (XI (XI (XO (XO (XO (XI (XO (XI
+    (XO (XI XH))))))))))))), (Npos (XI (XI (XO (XI (XI (XO (XO (XO (XO
+    XH))))))))))), (Npos (XI (XI (XI (XI (XI (XI (XO XH))))))))), (Npos (XI
+    (XI (XO XH))))), (Npos (XI (XI (XI (XO (XI (XO (XI (XI (XO (XI (XO (XI
+    XH)))))))))))))) :: ((((((Npos (XO (XI (XI (XI (XI (XO (XI (XI (XO (XI
+    (XO (XI XH))))))))))))), (Npos (XI (XO (XI (XO (XI (XI (XO XH))))))))),
+    (Npos (XI (XI (XI (XI (XI (XI (XO XH))))))))), (Npos (XI (XI (XO XH))))),
+    (Npos (XI (XO (XI (XO (XO (XI (XO (XO (XI (XI (XO (XI
+    XH)))))))))))))) :: ((((((Npos (XO (XO (XI (XI (XO (XI (XO (XO (XI (XI
+    (XO (XI XH))))))))))))), (Npos (XO (XO (XO (XO (XO (XO XH)))))))), (Npos
+    (XI (XI (XI (XI (XI (XI (XO XH))))))))), (Npos (XI (XI (XO XH))))), (Npos
+    (XI (XI (XO (XO (XI (XI (XI (XO (XI (XI (XO (XI
+    XH)))))))))))))) :: ((((((Npos (XI (XO (XO (XI (XI (XI (XI (XO (XI (XI
+    (XO (XI XH))))))))))))), (Npos (XI (XI (XO (XO (XO (XO (XO (XI
+    XH)))))))))), (Npos (XI (XI (XI (XI (XI (XI (XO XH))))))))), (Npos (XI
+    (XI (XO XH))))), (Npos (XI (XI (XI (XI (XI (XI (XO (XI (XI (XI (XO (XI
+    XH)))))))))))))) :: ((((((Npos (XO (XO (XI (XO (XO (XO (XI (XI (XI (XI
+    (XO (XI XH))))))))))))), (Npos (XI (XI (XI (XO (XO (XO (XI (XI (XI
+    XH))))))))))), (Npos (XI (XI (XI (XI (XI (XI (XO XH))))))))), (Npos (XI
+    (XI (XO XH))))), (Npos (XI (XO (XO (XI (XO (XO (XO (XO (XO (XO (XI (XI
+    XH)))))))))))))) :: ((((((Npos (XI (XO (XO (XO (XI (XO (XO (XO (XO (XO
+    (XI (XI XH))))))))))))), (Npos (XI (XI (XO (XI (XO (XO (XI (XO (XI
+    XH))))))))))), (Npos (XI (XI (XI (XI (XI (XI (XO XH))))))))), (Npos (XI
+    (XI (XO XH))))), (Npos (XI (XO (XI (XO (XI (XO (XI (XO (XO (XO (XI (XI
+    XH)))))))))))))) :: ((((((Npos (XI (XO (XO (XO (XI (XI (XI (XO (XO (XO
+    (XI (XI XH))))))))))))), (Npos (XI (XI (XI (XO (XO (XI (XI (XI (XI
+    XH))))))))))), (Npos (XI (XO (XO (XO (XO (XO (XI XH))))))))), (Npos (XI
+    (XI (XO XH))))), (Npos (XI (XI (XI (XO (XI (XI (XO (XI (XO (XO (XI (XI
+    XH)))))))))))))) :: ((((((Npos (XO (XO (XO (XO (XO (XO (XI (XI (XO (XO
+    (XI (XI XH))))))))))))), (Npos (XO (XO (XI (XI (XO (XO XH)))))))), (Npos
+    (XI (XO (XI (XO (XO (XO (XI XH))))))))), (Npos (XI (XI (XO XH))))), (Npos
+    (XI (XO (XO (XI (XO (XO (XO (XO (XI (XO (XI (XI
+    XH)))))))))))))) :: ((((((Npos (XI (XO (XI (XO (XI (XO (XO (XO (XI (XO
+    (XI (XI XH))))))))))))), (Npos (XO (XI (XI (XI (XO (XO (XO XH))))))))),
+    (Npos (XI (XO (XI (XO (XO (XO (XI XH))))))))), (Npos (XI (XI (XO XH))))),
+    (Npos (XI (XO (XI (XI (XI (XO (XI (XO (XI (XO (XI (XI
+    XH)))))))))))))) :: ((((((Npos (XO (XO (XO (XO (XO (XI (XI (XO (XI (XO
+    (XI (XI XH))))))))))))), (Npos (XI (XI (XI (XO (XI (XO (XI (XO (XO
+    XH))))))))))), (Npos (XI (XO (XI (XO (XO (XO (XI XH))))))))), (Npos (XI
+    (XI (XO XH))))), (Npos (XI (XI (XI (XO (XO (XI (XO (XI (XI (XO (XI (XI
+    XH)))))))))))))) :: ((((((Npos (XO (XO (XI (XI (XO (XI (XO (XI (XI (XO
+    (XI (XI XH))))))))))))), (Npos (XO (XO (XO (XO (XO (XO (XI (XO (XO
+    XH))))))))))), (Npos (XI (XI (XI (XO (XO (XO (XI XH))))))))), (Npos (XI
+    (XI (XO XH))))), (Npos (XI (XO (XI (XO (XI (XI (XI (XI (XI (XO (XI (XI
+    XH)))))))))))))) :: ((((((Npos (XI (XI (XO (XI (XI (XI (XI (XI (XI (XO
+    (XI (XI XH))))))))))))), (Npos (XO (XO (XO (XO (XI (XI (XO XH))))))))),
+    (Npos (XI (XI (XO (XO (XI (XO (XI XH))))))))), (Npos (XI (XI (XO XH))))),
+    (Npos (XI (XI (XI (XI (XO (XO (XI (XO (XO (XI (XI (XI
+    XH)))))))))))))) :: ((((((Npos (XO (XI (XO (XI (XI (XO (XI (XO (XO (XI
+    (XI (XI XH))))))))))))), (Npos (XO (XO (XO (XI (XO (XO (XO (XI
+    XH)))))))))), (Npos (XI (XI (XO (XO (XI (XO (XI XH))))))))), (Npos (XI
+    (XI (XO XH))))), (Npos (XI (XO (XI (XI (XO (XI (XO (XI (XO (XI (XI (XI
+    XH)))))))))))))) :: ((((((Npos (XI (XI (XI (XI (XO (XI (XO (XI (XO (XI
+    (XI (XI XH))))))))))))), (Npos (XO (XO (XI (XI (XO (XO (XI (XO
+    XH)))))))))), (Npos (XI (XI (XO (XO (XI (XO (XI XH))))))))), (Npos (XI
+    (XI (XO XH))))), (Npos (XI (XO (XO (XO (XO (XO (XO (XO (XI (XI (XI (XI
+    XH)))))))))))))) :: ((((((Npos (XI (XI (XI (XI (XI (XI (XI (XI (XO (XI
+    (XI (XI XH))))))))))))), (Npos (XI (XI (XO (XO (XO (XI (XO (XO
+    XH)))))))))), (Npos (XI (XI (XO (XO (XI (XO (XI XH))))))))), (Npos (XI
+    (XI (XO XH))))), (Npos (XI (XO (XO (XO (XI (XO (XI (XO (XI (XI (XI (XI
+    XH)))))))))))))) :: ((((((Npos (XO (XI (XI (XI (XI (XO (XI (XO (XI (XI
+    (XI (XI XH))))))))))))), (Npos (XI (XO (XO (XO (XI (XO (XO (XI (XI
+    XH))))))))))), (Npos (XI (XI (XO (XO (XI (XO (XI XH))))))))), (Npos (XI
+    (XI (XO XH))))), (Npos (XI (XI (XI (XI (XO (XI (XO (XI (XI (XI (XI (XI
+    XH)))))))))))))) :: ((((((Npos (XI (XI (XI (XI (XO (XI (XO (XI (XI (XI
+    (XI (XI XH))))))))))))), (Npos (XO (XO (XO (XO (XO (XI (XI (XO (XO
+    XH))))))))))), (Npos (XI (XI (XO (XO (XI (XO (XI XH))))))))), (Npos (XI
+    (XI (XO XH))))), (Npos (XI (XI (XI (XI (XI (XI (XI (XI (XI (XI (XI (XI
+    XH)))))))))))))) :: ((((((Npos (XO (XI (XO (XO (XO (XO (XO (XO (XO (XO
+    (XO (XO (XO XH)))))))))))))), (Npos (XO (XO (XI (XO (XI (XO (XI
+    XH))))))))), (Npos (XI (XI (XO (XO (XI (XO (XI XH))))))))), (Npos (XI (XI
+    (XO XH))))), (Npos (XI (XO (XO (XO (XI (XO (XI (XO (XO (XO (XO (XO (XO
+    XH))))))))))))))) :: ((((((Npos (XO (XI (XO (XO (XO (XI (XI (XO (XO (XO
+    (XO (XO (XO XH)))))))))))))), (Npos (XO (XO (XO (XI (XI (XI (XO (XI (XO
+    XH))))))))))), (Npos (XI (XI (XO (XO (XI (XO (XI XH))))))))), (Npos (XI
+    (XI (XO XH))))), (Npos (XI (XO (XO (XO (XI (XI (XO (XI (XO (XO (XO (XO
+    (XO XH))))))))))))))) :: ((((((Npos (XI (XO (XO (XI (XI (XI (XO (XI (XO
+    (XO (XO (XO (XO XH)))))))))))))), (Npos (XI (XI (XO (XO (XO (XI (XO (XI
+    (XI XH))))))))))), (Npos (XI (XI (XI (XI (XI (XO (XI XH))))))))), (Npos
+    (XI (XI (XO XH))))), (Npos (XI (XI (XO (XO (XI (XO (XO (XO (XI (XO (XO
+    (XO (XO XH))))))))))))))) :: ((((((Npos (XO (XI (XO (XI (XI (XO (XO (XO
+    (XI (XO (XO (XO (XO XH)))))))))))))), (Npos (XO (XI (XI (XO (XO (XO (XI
+    (XO XH)))))))))), (Npos (XI (XI (XI (XI (XI (XO (XI XH))))))))), (Npos
+    (XI (XI (XO XH))))), (Npos (XI (XI (XO (XO (XI (XI (XI (XO (XI (XO (XO
+    (XO (XO XH))))))))))))))) :: ((((((Npos (XI (XI (XI (XI (XO (XI (XI (XO
+    (XI (XO (XO (XO (XO XH)))))))))))))), (Npos (XO (XO (XI (XO (XO (XI (XI
+    XH))))))))), (Npos (XI (XI (XI (XI (XI (XO (XI XH))))))))), (Npos (XI (XI
+    (XO XH))))), (Npos (XI (XI (XI (XO (XO (XO (XI (XI (XI (XO (XO (XO (XO
+    XH))))))))))))))) :: ((((((Npos (XO (XI (XI (XI (XO (XO (XI (XI (XI (XO
+    (XO (XO (XO XH)))))))))))))), (Npos (XO (XI (XO (XO (XO (XO (XI (XI (XO
+    XH))))))))))), (Npos (XI (XI (XI (XI (XI (XO (XI XH))))))))), (Npos (XI
+    (XI (XO XH))))), (Npos (XI (XO (XI (XO (XO (XI (XO (XO (XO (XI (XO (XO
+    (XO XH))))))))))))))) :: ((((((Npos (XO (XO (XO (XI (XO (XI (XO (XO (XO
+    (XI (XO (XO (XO XH)))))))))))))), (Npos (XO (XO (XO (XO (XI (XO (XO
+    XH))))))))), (Npos (XI (XI (XI (XI (XI (XO (XI XH))))))))), (Npos (XI (XI
+    (XO XH))))), (Npos (XI (XI (XI (XI (XI (XI (XI (XO (XO (XI (XO (XO (XO
+    XH))))))))))))))) :: ((((((Npos (XI (XO (XI (XO (XO (XO (XO (XI (XO (XI
+    (XO (XO (XO XH)))))))))))))), (Npos (XI (XI (XO (XO (XI (XO XH)))))))),
+    (Npos (XI (XI (XI (XI (XI (XO (XI XH))))))))), (Npos (XI (XI (XO XH))))),
+    (Npos (XI (XI (XO (XI (XI (XO (XI (XI (XO (XI (XO (XO (XO
+    XH))))))))))))))) :: ((((((Npos (XO (XO (XO (XO (XO (XI (XI (XI (XO (XI
+    (XO (XO (XO XH)))))))))))))), (Npos (XI (XI (XI (XO (XO (XI (XI (XI (XO
+    XH))))))))))), (Npos (XI (XI (XI (XI (XI (XO (XI XH))))))))), (Npos (XI
+    (XI (XO XH))))), (Npos (XI (XO (XI (XO (XI (XI (XO (XO (XI (XI (XO (XO
+    (XO XH))))))))))))))) :: ((((((Npos (XI (XI (XO (XI (XI (XI (XO (XO (XI
+    (XI (XO (XO (XO XH)))))))))))))), (Npos (XI (XI (XO (XI (XI (XI (XO
+    XH))))))))), (Npos (XI (XI (XI (XI (XI (XO (XI XH))))))))), (Npos (XI (XI
+    (XO XH))))), (Npos (XI (XI (XI (XI (XO (XO (XO (XI (XI (XI (XO (XO (XO
+    XH))))))))))))))) :: ((((((Npos (XI (XI (XI (XO (XI (XO (XO (XI (XI (XI
+    (XO (XO (XO XH)))))))))))))), (Npos (XO (XI (XI (XI (XO (XO (XO (XI (XO
+    XH))))))))))), (Npos (XI (XI (XO (XO (XO (XI (XI XH))))))))), (Npos (XI
+    (XI (XO XH))))), (Npos (XI (XI (XI (XI (XO (XI (XI (XI (XI (XI (XO (XO
+    (XO XH))))))))))))))) :: ((((((Npos (XO (XI (XI (XO (XI (XI (XI (XI (XI
+    (XI (XO (XO (XO XH)))))))))))))), (Npos (XI (XI (XI (XO (XO (XI (XI (XO
+    XH)))))))))), (Npos (XI (XI (XO (XO (XO (XI (XI XH))))))))), (Npos (XI
+    (XI (XO XH))))), (Npos (XI (XO (XI (XI (XO (XO (XI (XO (XO (XO (XI (XO
+    (XO XH))))))))))))))) :: ((((((Npos (XI (XI (XI (XO (XI (XO (XI (XO (XO
+    (XO (XI (XO (XO XH)))))))))))))), (Npos (XI (XO (XI (XI (XO (XI (XI (XI
+    XH)))))))))), (Npos (XI (XO (XI (XO (XO (XI (XI XH))))))))), (Npos (XI
+    (XI (XO XH))))), (Npos (XI (XI (XI (XI (XO (XI (XO (XI (XO (XO (XI (XO
+    (XO XH))))))))))))))) :: ((((((Npos (XO (XO (XO (XI (XI (XI (XO (XI (XO
+    (XO (XI (XO (XO XH)))))))))))))), (Npos (XI (XO (XO (XO (XI (XI (XI (XO
+    XH)))))))))), (Npos (XI (XO (XO (XI (XO (XI (XI XH))))))))), (Npos (XI
+    (XI (XO XH))))), (Npos (XI (XI (XO (XO (XI (XO (XO (XO (XI (XO (XI (XO
+    (XO XH))))))))))))))) :: ((((((Npos (XI (XO (XO (XI (XI (XO (XO (XO (XI
+    (XO (XI (XO (XO XH)))))))))))))), (Npos (XI (XO (XI (XO (XI (XO (XI (XI
+    (XI XH))))))))))), (Npos (XI (XO (XO (XI (XO (XI (XI XH))))))))), (Npos
+    (XI (XI (XO XH))))), (Npos (XI (XI (XO (XO (XI (XI (XI (XO (XI (XO (XI
+    (XO (XO XH))))))))))))))) :: ((((((Npos (XI (XO (XO (XO (XO (XO (XO (XI
+    (XI (XO (XI (XO (XO XH)))))))))))))), (Npos (XO (XO (XI (XO (XI (XO (XO
+    (XO XH)))))))))), (Npos (XI (XI (XI (XI (XO (XI (XI XH))))))))), (Npos
+    (XI (XI (XO XH))))), (Npos (XI (XO (XO (XO (XO (XI (XI (XI (XI (XO (XI
+    (XO (XO XH))))))))))))))) :: ((((((Npos (XO (XO (XI (XI (XO (XI (XI (XI
+    (XI (XO (XI (XO (XO XH)))))))))))))), (Npos (XI (XI (XI (XO (XO (XO (XO
+    (XI (XO XH))))))))))), (Npos (XI (XI (XI (XI (XO (XI (XI XH))))))))),
+    (Npos (XI (XI (XO XH))))), (Npos (XI (XI (XO (XI (XO (XO (XI (XO (XO (XI
+    (XI (XO (XO XH))))))))))))))) :: ((((((Npos (XI (XO (XI (XO (XI (XO (XI
+    (XO (XO (XI (XI (XO (XO XH)))))))))))))), (Npos (XI (XO (XI (XO (XO (XO
+    (XO (XI XH)))))))))), (Npos (XI (XI (XI (XI (XO (XI (XI XH))))))))),
+    (Npos (XI (XI (XO XH))))), (Npos (XI (XI (XO (XO (XI (XI (XO (XI (XO (XI
+    (XI (XO (XO XH))))))))))))))) :: ((((((Npos (XO (XO (XI (XI (XI (XI (XO
+    (XI (XO (XI (XI (XO (XO XH)))))))))))))), (Npos (XO (XO (XO (XO (XI (XO
+    XH)))))))), (Npos (XI (XI (XI (XI (XO (XI (XI XH))))))))), (Npos (XI (XI
+    (XO XH))))), (Npos (XI (XO (XO (XI (XI (XO (XO (XO (XI (XI (XI (XO (XO
+    XH))))))))))))))) :: ((((((Npos (XI (XO (XO (XO (XO (XI (XO (XO (XI (XI
+    (XI (XO (XO XH)))))))))))))), (Npos (XO (XO (XI (XI (XO (XO (XO (XI
+    XH)))))))))), (Npos (XI (XO (XO (XO (XI (XI (XI XH))))))))), (Npos (XI
+    (XI (XO XH))))), (Npos (XI (XI (XI (XI (XI (XI (XI (XO (XI (XI (XI (XO
+    (XO XH))))))))))))))) :: ((((((Npos (XO (XO (XO (XI (XO (XO (XO (XI (XI
+    (XI (XI (XO (XO XH)))))))))))))), (Npos (XO (XO (XI (XO (XO (XO (XI (XO
+    (XO XH))))))))))), (Npos (XI (XI (XO (XI (XI (XI (XI XH))))))))), (Npos
+    (XI (XI (XO XH))))), (Npos (XI (XI (XI (XI (XO (XI (XI (XI (XI (XI (XI
+    (XO (XO XH))))))))))))))) :: ((((((Npos (XI (XO (XO (XO (XO (XO (XO (XO
+    (XO (XO (XO (XI (XO XH)))))))))))))), (Npos (XI (XO (XO (XI (XO (XI (XI
+    (XO (XI XH))))))))))), (Npos (XI (XI (XO (XI (XI (XI (XI XH))))))))),
+    (Npos (XI (XI (XO XH))))), (Npos (XI (XI (XI (XO (XO (XI (XI (XO (XO (XO
+    (XO (XI (XO XH))))))))))))))) :: ((((((Npos (XI (XI (XI (XI (XO (XI (XI
+    (XO (XO (XO (XO (XI (XO XH)))))))))))))), (Npos (XI (XI (XI XH))))),
+    (Npos (XI (XI (XO (XI (XI (XI (XI XH))))))))), (Npos (XI (XI (XO XH))))),
+    (Npos (XI (XO (XI (XO (XI (XO (XI (XI (XO (XO (XO (XI (XO
+    XH))))))))))))))) :: ((((((Npos (XO (XI (XO (XI (XI (XO (XI (XI (XO (XO
+    (XO (XI (XO XH)))))))))))))), (Npos (XO (XO (XO (XO (XI (XO (XI (XI (XI
+    XH))))))))))), (Npos (XI (XI (XO (XI (XI (XI (XI XH))))))))), (Npos (XI
+    (XI (XO XH))))), (Npos (XI (XI (XI (XI (XI (XI (XO (XO (XI (XO (XO (XI
+    (XO XH))))))))))))))) :: ((((((Npos (XI (XI (XI (XO (XO (XO (XI (XO (XI
+    (XO (XO (XI (XO XH)))))))))))))), (Npos (XO (XO (XO (XI (XO (XO (XI (XO
+    (XO XH))))))))))), (Npos (XI (XI (XO (XI (XI (XI (XI XH))))))))), (Npos
+    (XI (XI (XO XH))))), (Npos (XI (XI (XO (XI (XO (XI (XO (XI (XI (XO (XO
+    (XI (XO XH))))))))))))))) :: ((((((Npos (XO (XO (XI (XO (XI (XI (XO (XI
+    (XI (XO (XO (XI (XO XH)))))))))))))), (Npos (XI (XI (XO (XI (XO (XO (XO
+    (XO XH)))))))))), (Npos (XI (XO (XO (XO (XO (XO (XO (XO XH)))))))))),
+    (Npos (XI (XI (XO XH))))), (Npos (XI (XO (XI (XI (XI (XO (XO (XO (XO (XI
+    (XO (XI (XO XH))))))))))))))) :: ((((((Npos (XI (XI (XO (XO (XO (XI (XO
+    (XO (XO (XI (XO (XI (XO XH)))))))))))))), (Npos (XO (XO (XI (XI (XO (XI
+    (XI (XO (XI XH))))))))))), (Npos (XI (XO (XO (XO (XO (XO (XO (XO
+    XH)))))))))), (Npos (XI (XI (XO XH))))), (Npos (XI (XI (XO (XI (XO (XO
+    (XO (XI (XO (XI (XO (XI (XO XH))))))))))))))) :: ((((((Npos (XI (XI (XO
+    (XO (XI (XO (XO (XI (XO (XI (XO (XI (XO XH)))))))))))))), (Npos (XO (XI
+    (XO (XO (XO (XO (XO (XI (XO XH))))))))))), (Npos (XI (XO (XO (XO (XO (XO
+    (XO (XO XH)))))))))), (Npos (XO (XO (XI XH))))), (Npos (XI (XI (XO (XI
+    (XI (XI (XI (XI (XO (XI (XO (XI (XO XH))))))))))))))) :: ((((((Npos (XI
+    (XI (XI (XO (XO (XO (XO (XO (XI (XI (XO (XI (XO XH)))))))))))))), (Npos
+    (XO (XI (XO (XI (XI (XO (XO (XO (XI XH))))))))))), (Npos (XI (XO (XO (XO
+    (XO (XO (XO (XO XH)))))))))), (Npos (XO (XO (XI XH))))), (Npos (XI (XI
+    (XI (XI (XO (XI (XI (XO (XI (XI (XO (XI (XO
+    XH))))))))))))))) :: ((((((Npos (XO (XI (XO (XI (XI (XI (XI (XO (XI (XI
+    (XO (XI (XO XH)))))))))))))), (Npos (XO (XI (XI (XI (XO (XO XH)))))))),
+    (Npos (XI (XI (XI (XO (XO (XO (XO (XO XH)))))))))), (Npos (XO (XO (XI
+    XH))))), (Npos (XI (XI (XI (XO (XO (XI (XI (XI (XI (XI (XO (XI (XO
+    XH))))))))))))))) :: ((((((Npos (XI (XO (XI (XI (XO (XI (XI (XI (XI (XI
+    (XO (XI (XO XH)))))))))))))), (Npos (XO (XO (XO (XO (XO (XI (XI (XI (XO
+    XH))))))))))), (Npos (XI (XI (XI (XO (XO (XO (XO (XO XH)))))))))), (Npos
+    (XO (XO (XI XH))))), (Npos (XI (XO (XO (XI (XI (XO (XI (XO (XO (XO (XI
+    (XI (XO XH))))))))))))))) :: ((((((Npos (XO (XI (XI (XI (XI (XO (XI (XO
+    (XO (XO (XI (XI (XO XH)))))))))))))), (Npos (XO (XI (XO (XO (XI (XI (XI
+    (XO (XI XH))))))))))), (Npos (XI (XO (XI (XI (XO (XO (XO (XO
+    XH)))))))))), (Npos (XO (XO (XI XH))))), (Npos (XI (XI (XI (XI (XO (XO
+    (XI (XI (XO (XO (XI (XI (XO XH))))))))))))))) :: ((((((Npos (XI (XI (XO
+    (XO (XI (XO (XI (XI (XO (XO (XI (XI (XO XH)))))))))))))), (Npos (XI (XI
+    (XO (XI (XI (XI (XI XH))))))))), (Npos (XI (XO (XI (XI (XO (XO (XO (XO
+    XH)))))))))), (Npos (XO (XO (XI XH))))), (Npos (XI (XI (XO (XO (XO (XO
+    (XI (XO (XI (XO (XI (XI (XO XH))))))))))))))) :: ((((((Npos (XO (XI (XI
+    (XO (XO (XO (XI (XO (XI (XO (XI (XI (XO XH)))))))))))))), (Npos (XO (XI
+    (XO (XO (XI (XI (XO (XI XH)))))))))), (Npos (XI (XO (XI (XI (XO (XO (XO
+    (XO XH)))))))))), (Npos (XO (XO (XI XH))))), (Npos (XI (XO (XI (XO (XI
+    (XI (XO (XI (XI (XO (XI (XI (XO XH))))))))))))))) :: ((((((Npos (XI (XI
+    (XI (XI (XI (XI (XO (XI (XI (XO (XI (XI (XO XH)))))))))))))), (Npos (XO
+    (XO (XI (XI (XO (XO (XI XH))))))))), (Npos (XI (XO (XI (XI (XO (XO (XO
+    (XO XH)))))))))), (Npos (XO (XO (XI XH))))), (Npos (XI (XO (XI (XI (XO
+    (XI (XO (XO (XO (XI (XI (XI (XO XH))))))))))))))) :: ((((((Npos (XI (XO
+    (XI (XO (XI (XI (XO (XO (XO (XI (XI (XI (XO XH)))))))))))))), (Npos (XO
+    (XO (XO (XO (XO (XO (XO (XO XH)))))))))), (Npos (XI (XI (XI (XI (XO (XO
+    (XO (XO XH)))))))))), (Npos (XO (XO (XI XH))))), (Npos (XI (XO (XI (XO
+    (XO (XI (XO (XI (XO (XI (XI (XI (XO XH))))))))))))))) :: ((((((Npos (XO
+    (XO (XI (XO (XI (XI (XO (XI (XO (XI (XI (XI (XO XH)))))))))))))), (Npos
+    (XO (XI (XO (XI (XO (XI XH)))))))), (Npos (XI (XO (XI (XO (XI (XO (XO (XO
+    XH)))))))))), (Npos (XO (XO (XI XH))))), (Npos (XI (XO (XO (XI (XO (XI
+    (XO (XO (XI (XI (XI (XI (XO XH))))))))))))))) :: ((((((Npos (XI (XI (XI
+    (XO (XI (XI (XO (XO (XI (XI (XI (XI (XO XH)))))))))))))), (Npos (XI (XI
+    (XI (XO (XI (XI (XI (XO XH)))))))))), (Npos (XI (XO (XI (XO (XI (XO (XO
+    (XO XH)))))))))), (Npos (XO (XO (XI XH))))), (Npos (XI (XI (XO (XI (XO
+    (XI (XO (XI (XI (XI (XI (XI (XO XH))))))))))))))) :: ((((((Npos (XO (XO
+    (XO (XO (XI (XI (XO (XI (XI (XI (XI (XI (XO XH)))))))))))))), (Npos (XO
+    (XO (XI (XO (XI (XO (XO XH))))))))), (Npos (XI (XO (XI (XO (XI (XO (XO
+    (XO XH)))))))))), (Npos (XO (XO (XI XH))))), (Npos (XI (XI (XO (XO (XO
+    (XI (XO (XO (XO (XO (XO (XO (XI XH))))))))))))))) :: ((((((Npos (XI (XO
+    (XI (XI (XO (XI (XO (XO (XO (XO (XO (XO (XI XH)))))))))))))), (Npos (XO
+    (XO (XO (XO (XI (XI (XI (XI XH)))))))))), (Npos (XI (XO (XO (XI (XI (XO
+    (XO (XO XH)))))))))), (Npos (XO (XO (XI XH))))), (Npos (XI (XI (XO (XO
+    (XO (XI (XO (XI (XO (XO (XO (XO (XI XH))))))))))))))) :: ((((((Npos (XO
+    (XO (XI (XI (XO (XI (XO (XI (XO (XO (XO (XO (XI XH)))))))))))))), (Npos
+    (XO (XO (XO (XI (XI (XO XH)))))))), (Npos (XI (XO (XO (XI (XI (XO (XO (XO
+    XH)))))))))), (Npos (XO (XO (XI XH))))), (Npos (XI (XO (XO (XO (XO (XI
+    (XO (XO (XI (XO (XO (XO (XI XH))))))))))))))) :: ((((((Npos (XI (XO (XO
+    (XO (XI (XI (XO (XO (XI (XO (XO (XO (XI XH)))))))))))))), (Npos (XO (XI
+    (XO (XI (XI (XI (XO (XO (XI XH))))))))))), (Npos (XI (XO (XI (XO (XO (XI
+    (XO (XO XH)))))))))), (Npos (XO (XO (XI XH))))), (Npos (XI (XO (XO (XO
+    (XI (XI (XO (XI (XI (XO (XO (XO (XI XH))))))))))))))) :: ((((((Npos (XO
+    (XI (XI (XO (XI (XI (XO (XI (XI (XO (XO (XO (XI XH)))))))))))))), (Npos
+    (XI (XI (XI (XO (XO (XO XH)))))))), (Npos (XI (XO (XI (XO (XO (XI (XO (XO
+    XH)))))))))), (Npos (XO (XO (XI XH))))), (Npos (XI (XO (XI (XO (XI (XI
+    (XO (XO (XO (XI (XO (XO (XI XH))))))))))))))) :: ((((((Npos (XI (XO (XO
+    (XI (XI (XI (XO (XO (XO (XI (XO (XO (XI XH)))))))))))))), (Npos (XI (XO
+    (XI (XI (XI (XO (XO (XI (XI XH))))))))))), (Npos (XI (XO (XI (XO (XO (XI
+    (XO (XO XH)))))))))), (Npos (XO (XO (XI XH))))), (Npos (XI (XI (XI (XO
+    (XI (XI (XO (XI (XO (XI (XO (XO (XI XH))))))))))))))) :: ((((((Npos (XO
+    (XI (XO (XI (XO (XO (XI (XI (XO (XI (XO (XO (XI XH)))))))))))))), (Npos
+    (XO (XO (XO (XI (XI (XI (XI (XI (XO XH))))))))))), (Npos (XI (XO (XI (XO
+    (XO (XI (XO (XO XH)))))))))), (Npos (XO (XO (XI XH))))), (Npos (XI (XI
+    (XI (XO (XO (XO (XI (XO (XI (XI (XO (XO (XI
+    XH))))))))))))))) :: ((((((Npos (XI (XI (XI (XO (XI (XO (XI (XO (XI (XI
+    (XO (XO (XI XH)))))))))))))), (Npos (XO (XI (XO (XO (XO (XO (XO
+    XH))))))))), (Npos (XI (XO (XI (XO (XO (XI (XO (XO XH)))))))))), (Npos
+    (XO (XO (XI XH))))), (Npos (XI (XI (XO (XO (XI (XO (XI (XI (XI (XI (XO
+    (XO (XI XH))))))))))))))) :: ((((((Npos (XO (XO (XI (XO (XO (XI (XI (XI
+    (XI (XI (XO (XO (XI XH)))))))))))))), (Npos (XI (XO (XO (XO (XO (XO (XO
+    (XI (XO XH))))))))))), (Npos (XI (XI (XO (XO (XI (XI (XO (XO
+    XH)))))))))), (Npos (XO (XO (XI XH))))), (Npos (XI (XO (XI (XI (XO (XI
+    (XI (XO (XO (XO (XI (XO (XI XH))))))))))))))) :: ((((((Npos (XI (XO (XO
+    (XI (XO (XI (XI (XO (XO (XO (XI (XO (XI XH)))))))))))))), (Npos (XO (XO
+    (XO (XO (XI (XO (XO (XI XH)))))))))), (Npos (XI (XI (XO (XO (XI (XI (XO
+    (XO XH)))))))))), (Npos (XO (XO (XI XH))))), (Npos (XI (XO (XO (XO (XI
+    (XI (XI (XI (XO (XO (XI (XO (XI XH))))))))))))))) :: ((((((Npos (XO (XI
+    (XI (XO (XI (XI (XI (XI (XO (XO (XI (XO (XI XH)))))))))))))), (Npos (XO
+    (XO (XO (XO (XO (XI (XI (XI XH)))))))))), (Npos (XI (XI (XO (XO (XI (XI
+    (XO (XO XH)))))))))), (Npos (XO (XO (XI XH))))), (Npos (XI (XO (XI (XI
+    (XI (XI (XI (XO (XI (XO (XI (XO (XI XH))))))))))))))) :: ((((((Npos (XI
+    (XI (XI (XI (XI (XI (XI (XO (XI (XO (XI (XO (XI XH)))))))))))))), (Npos
+    (XO (XO (XI (XI (XO (XO XH)))))))), (Npos (XI (XI (XO (XO (XI (XI (XO (XO
+    XH)))))))))), (Npos (XO (XO (XI XH))))), (Npos (XI (XO (XI (XO (XO (XO
+    (XO (XO (XO (XI (XI (XO (XI XH))))))))))))))) :: ((((((Npos (XI (XO (XO
+    (XI (XO (XO (XO (XO (XO (XI (XI (XO (XI XH)))))))))))))), (Npos (XI (XO
+    (XO (XI (XI (XO (XO (XI (XO XH))))))))))), (Npos (XI (XI (XO (XO (XI (XI
+    (XO (XO XH)))))))))), (Npos (XO (XO (XI XH))))), (Npos (XI (XI (XI (XI
+    (XO (XO (XO (XI (XO (XI (XI (XO (XI XH))))))))))))))) :: ((((((Npos (XO
+    (XI (XI (XO (XI (XO (XO (XI (XO (XI (XI (XO (XI XH)))))))))))))), (Npos
+    (XO (XI (XI (XI (XO (XO (XO (XI (XI XH))))))))))), (Npos (XI (XI (XO (XO
+    (XI (XI (XO (XO XH)))))))))), (Npos (XO (XO (XI XH))))), (Npos (XI (XI
+    (XO (XI (XI (XO (XO (XO (XI (XI (XI (XO (XI
+    XH))))))))))))))) :: ((((((Npos (XI (XI (XO (XO (XO (XI (XO (XO (XI (XI
+    (XI (XO (XI XH)))))))))))))), (Npos (XI (XI (XO (XO (XI (XO (XI (XI
+    XH)))))))))), (Npos (XI (XI (XI (XO (XI (XI (XO (XO XH)))))))))), (Npos
+    (XO (XO (XI XH))))), (Npos (XI (XI (XO (XI (XO (XI (XO (XI (XI (XI (XI
+    (XO (XI XH))))))))))))))) :: ((((((Npos (XO (XO (XO (XO (XO (XO (XI (XI
+    (XI (XI (XI (XO (XI XH)))))))))))))), (Npos (XO (XO (XI (XO (XO (XO (XI
+    (XI (XI XH))))))))))), (Npos (XI (XI (XI (XO (XI (XI (XO (XO
+    XH)))))))))), (Npos (XO (XO (XI XH))))), (Npos (XI (XI (XI (XO (XO (XO
+    (XI (XO (XO (XO (XO (XI (XI XH))))))))))))))) :: ((((((Npos (XI (XI (XI
+    (XI (XO (XO (XI (XO (XO (XO (XO (XI (XI XH)))))))))))))), (Npos (XI (XO
+    (XO (XO (XI (XI (XI (XO (XO XH))))))))))), (Npos (XI (XO (XO (XI (XI (XI
+    (XO (XO XH)))))))))), (Npos (XO (XO (XI XH))))), (Npos (XI (XI (XI (XO
+    (XI (XO (XI (XI (XO (XO (XO (XI (XI XH))))))))))))))) :: ((((((Npos (XO
+    (XO (XO (XO (XO (XI (XI (XI (XO (XO (XO (XI (XI XH)))))))))))))), (Npos
+    (XO (XI (XO (XI (XO (XI (XI (XO XH)))))))))), (Npos (XI (XO (XI (XI (XI
+    (XI (XO (XO XH)))))))))), (Npos (XO (XO (XI XH))))), (Npos (XI (XI (XO
+    (XI (XO (XI (XI (XO (XI (XO (XO (XI (XI XH))))))))))))))) :: ((((((Npos
+    (XI (XO (XO (XI (XI (XI (XI (XO (XI (XO (XO (XI (XI XH)))))))))))))),
+    (Npos (XI (XI (XI (XO (XI (XI (XI (XI (XO XH))))))))))), (Npos (XI (XO
+    (XI (XI (XI (XI (XO (XO XH)))))))))), (Npos (XO (XO (XI XH))))), (Npos
+    (XI (XI (XO (XO (XO (XO (XO (XO (XO (XI (XO (XI (XI
+    XH))))))))))))))) :: ((((((Npos (XO (XI (XI (XI (XO (XO (XO (XO (XO (XI
+    (XO (XI (XI XH)))))))))))))), (Npos (XO (XO (XO (XI (XI (XO (XI (XI (XO
+    XH))))))))))), (Npos (XI (XI (XO (XI (XO (XO (XI (XO XH)))))))))), (Npos
+    (XO (XO (XI XH))))), (Npos (XI (XO (XI (XO (XO (XI (XO (XI (XO (XI (XO
+    (XI (XI XH))))))))))))))) :: ((((((Npos (XI (XI (XO (XO (XO (XI (XO (XI
+    (XO (XI (XO (XI (XI XH)))))))))))))), (Npos (XI (XI (XI (XO (XI (XO (XI
+    (XO XH)))))))))), (Npos (XI (XI (XO (XI (XO (XO (XI (XO XH)))))))))),
+    (Npos (XO (XO (XI XH))))), (Npos (XI (XO (XO (XI (XI (XI (XO (XO (XI (XI
+    (XO (XI (XI XH))))))))))))))) :: ((((((Npos (XO (XI (XO (XO (XO (XO (XI
+    (XO (XI (XI (XO (XI (XI XH)))))))))))))), (Npos (XI (XO (XO (XO (XI (XI
+    XH)))))))), (Npos (XI (XI (XO (XI (XO (XO (XI (XO XH)))))))))), (Npos (XO
+    (XO (XI XH))))), (Npos (XI (XI (XI (XO (XI (XO (XI (XI (XI (XI (XO (XI
+    (XI XH))))))))))))))) :: ((((((Npos (XI (XO (XI (XI (XI (XO (XI (XI (XI
+    (XI (XO (XI (XI XH)))))))))))))), (Npos (XI (XO (XO (XI (XO (XO (XO
+    XH))))))))), (Npos (XI (XI (XO (XI (XO (XO (XI (XO XH)))))))))), (Npos
+    (XO (XO (XI XH))))), (Npos (XI (XO (XO (XO (XI (XI (XI (XO (XO (XO (XI
+    (XI (XI XH))))))))))))))) :: ((((((Npos (XO (XO (XO (XI (XO (XO (XO (XI
+    (XO (XO (XI (XI (XI XH)))))))))))))), (Npos (XO (XO (XI (XO (XI (XI (XO
+    (XO XH)))))))))), (Npos (XI (XI (XO (XI (XO (XO (XI (XO XH)))))))))),
+    (Npos (XO (XO (XI XH))))), (Npos (XI (XI (XO (XI (XI (XO (XO (XO (XI (XO
+    (XI (XI (XI XH))))))))))))))) :: ((((((Npos (XI (XI (XO (XO (XO (XI (XO
+    (XO (XI (XO (XI (XI (XI XH)))))))))))))), (Npos (XO (XO (XO (XO (XO (XI
+    (XO (XO (XI XH))))))))))), (Npos (XI (XO (XO (XO (XI (XO (XI (XO
+    XH)))))))))), (Npos (XO (XO (XI XH))))), (Npos (XI (XI (XO (XI (XI (XI
+    (XO (XI (XI (XO (XI (XI (XI XH))))))))))))))) :: ((((((Npos (XO (XO (XO
+    (XO (XO (XO (XI (XI (XI (XO (XI (XI (XI XH)))))))))))))), (Npos (XI (XO
+    (XO (XO (XI (XI (XO XH))))))))), (Npos (XI (XO (XO (XO (XI (XO (XI (XO
+    XH)))))))))), (Npos (XO (XO (XI XH))))), (Npos (XI (XI (XI (XO (XI (XO
+    (XI (XO (XO (XI (XI (XI (XI XH))))))))))))))) :: ((((((Npos (XI (XO (XO
+    (XI (XO (XI (XI (XO (XO (XI (XI (XI (XI XH)))))))))))))), (Npos (XI (XO
+    (XO (XO (XO (XO (XI (XI (XI XH))))))))))), (Npos (XI (XO (XO (XO (XI (XO
+    (XI (XO XH)))))))))), (Npos (XO (XO (XI XH))))), (Npos (XI (XI (XI (XI
+    (XI (XI (XI (XI (XO (XI (XI (XI (XI XH))))))))))))))) :: ((((((Npos (XI
+    (XO (XO (XO (XO (XI (XO (XO (XI (XI (XI (XI (XI XH)))))))))))))), (Npos
+    (XO (XI (XI (XI (XI (XI (XO (XI (XI XH))))))))))), (Npos (XI (XI (XO (XI
+    (XI (XO (XI (XO XH)))))))))), (Npos (XO (XO (XI XH))))), (Npos (XI (XI
+    (XI (XI (XI (XI (XO (XI (XI (XI (XI (XI (XI
+    XH))))))))))))))) :: ((((((Npos (XO (XO (XO (XO (XI (XO (XI (XI (XI (XI
+    (XI (XI (XI XH)))))))))))))), (Npos (XO (XO (XO (XI (XO (XO XH)))))))),
+    (Npos (XI (XI (XO (XI (XI (XO (XI (XO XH)))))))))), (Npos (XO (XO (XI
+    XH))))), (Npos (XI (XO (XI (XI (XO (XI (XI (XO (XO (XO (XO (XO (XO (XO
+    XH)))))))))))))))) :: ((((((Npos (XI (XO (XO (XI (XI (XI (XI (XO (XO (XO
+    (XO (XO (XO (XO XH))))))))))))))), (Npos (XO (XO (XI (XI (XI (XO (XI (XI
+    (XO XH))))))))))), (Npos (XI (XI (XO (XI (XI (XO (XI (XO XH)))))))))),
+    (Npos (XO (XO (XI XH))))), (Npos (XI (XO (XI (XO (XI (XO (XO (XO (XI (XO
+    (XO (XO (XO (XO XH)))))))))))))))) :: ((((((Npos (XO (XI (XO (XO (XO (XI
+    (XO (XO (XI (XO (XO (XO (XO (XO XH))))))))))))))), (Npos (XI (XO (XO (XO
+    (XI (XO (XO XH))))))))), (Npos (XI (XO (XI (XI (XI (XO (XI (XO
+    XH)))))))))), (Npos (XO (XO (XI XH))))), (Npos (XI (XI (XI (XI (XI (XI
+    (XO (XI (XI (XO (XO (XO (XO (XO XH)))))))))))))))) :: ((((((Npos (XI (XI
+    (XO (XO (XI (XO (XI (XI (XI (XO (XO (XO (XO (XO XH))))))))))))))), (Npos
+    (XI (XO (XO (XO (XO (XO (XI (XO (XO XH))))))))))), (Npos (XI (XO (XO (XO
+    (XO (XI (XI (XO XH)))))))))), (Npos (XO (XO (XI XH))))), (Npos (XI (XI
+    (XO (XO (XI (XI (XI (XO (XO (XI (XO (XO (XO (XO
+    XH)))))))))))))))) :: ((((((Npos (XO (XO (XO (XO (XO (XO (XO (XI (XO (XI
+    (XO (XO (XO (XO XH))))))))))))))), (Npos (XI (XO (XO (XO (XI (XI (XO (XO
+    XH)))))))))), (Npos (XI (XO (XO (XO (XO (XI (XI (XO XH)))))))))), (Npos
+    (XO (XO (XI XH))))), (Npos (XI (XI (XI (XI (XI (XO (XO (XO (XI (XI (XO
+    (XO (XO (XO XH)))))))))))))))) :: ((((((Npos (XI (XI (XO (XI (XO (XI (XO
+    (XO (XI (XI (XO (XO (XO (XO XH))))))))))))))), (Npos (XO (XI (XO (XO (XI
+    XH))))))), (Npos (XI (XI (XI (XO (XO (XI (XI (XO XH)))))))))), (Npos (XO
+    (XO (XI XH))))), (Npos (XI (XI (XI (XI (XO (XO (XI (XI (XI (XI (XO (XO
+    (XO (XO XH)))))))))))))))) :: ((((((Npos (XO (XO (XO (XO (XO (XI (XI (XI
+    (XI (XI (XO (XO (XO (XO XH))))))))))))))), (Npos (XI (XI (XI (XI (XI (XO
+    (XI (XO XH)))))))))), (Npos (XI (XI (XI (XO (XO (XI (XI (XO XH)))))))))),
+    (Npos (XO (XO (XI XH))))), (Npos (XI (XI (XO (XO (XO (XO (XO (XI (XO (XO
+    (XI (XO (XO (XO XH)))))))))))))))) :: ((((((Npos (XI (XI (XI (XO (XI (XO
+    (XO (XI (XO (XO (XI (XO (XO (XO XH))))))))))))))), (Npos (XI (XI (XI (XI
+    (XO (XI (XO XH))))))))), (Npos (XI (XI (XI (XI (XO (XI (XI (XO
+    XH)))))))))), (Npos (XO (XO (XI XH))))), (Npos (XI (XO (XO (XO (XO (XO
+    (XI (XO (XI (XO (XI (XO (XO (XO XH)))))))))))))))) :: ((((((Npos (XO (XI
+    (XI (XI (XO (XO (XI (XO (XI (XO (XI (XO (XO (XO XH))))))))))))))), (Npos
+    (XI (XI (XI (XO (XI (XO (XI (XI (XO XH))))))))))), (Npos (XI (XI (XI (XI
+    (XO (XI (XI (XO XH)))))))))), (Npos (XO (XO (XI XH))))), (Npos (XI (XI
+    (XI (XO (XI (XI (XI (XI (XI (XO (XI (XO (XO (XO
+    XH)))))))))))))))) :: ((((((Npos (XI (XO (XO (XI (XO (XO (XO (XO (XO (XI
+    (XI (XO (XO (XO XH))))))))))))))), (Npos (XO (XI (XI (XO (XO (XO (XO (XI
+    (XI XH))))))))))), (Npos (XI (XI (XI (XI (XO (XI (XI (XO XH)))))))))),
+    (Npos (XO (XO (XI XH))))), (Npos (XI (XO (XO (XO (XI (XI (XO (XI (XO (XI
+    (XI (XO (XO (XO XH)))))))))))))))) :: ((((((Npos (XO (XO (XI (XO (XO (XO
+    (XI (XI (XO (XI (XI (XO (XO (XO XH))))))))))))))), (Npos (XI (XO (XO (XI
+    (XI (XO (XO (XI XH)))))))))), (Npos (XI (XO (XI (XO (XI (XI (XI (XO
+    XH)))))))))), (Npos (XO (XO (XI XH))))), (Npos (XI (XO (XO (XO (XI (XI
+    (XI (XO (XI (XI (XI (XO (XO (XO XH)))))))))))))))) :: ((((((Npos (XI (XO
+    (XI (XO (XO (XO (XO (XI (XI (XI (XI (XO (XO (XO XH))))))))))))))), (Npos
+    (XO (XO (XO (XI (XO (XO (XO (XO (XI XH))))))))))), (Npos (XI (XO (XI (XO
+    (XI (XI (XI (XO XH)))))))))), (Npos (XO (XO (XI XH))))), (Npos (XI (XO
+    (XO (XO (XI (XI (XO (XO (XO (XO (XO (XI (XO (XO
+    XH)))))))))))))))) :: ((((((Npos (XI (XI (XI (XO (XO (XO (XI (XO (XO (XO
+    (XO (XI (XO (XO XH))))))))))))))), (Npos (XO (XI (XO (XI (XO (XO (XI (XO
+    (XO XH))))))))))), (Npos (XI (XI (XO (XI (XI (XI (XI (XO XH)))))))))),
+    (Npos (XO (XO (XI XH))))), (Npos (XI (XI (XI (XO (XI (XI (XI (XI (XO (XO
+    (XO (XI (XO (XO XH)))))))))))))))) :: ((((((Npos (XO (XI (XI (XO (XO (XO
+    (XO (XO (XI (XO (XO (XI (XO (XO XH))))))))))))))), (Npos (XI (XI (XO (XO
+    (XO (XO (XI (XI XH)))))))))), (Npos (XI (XI (XO (XI (XI (XI (XI (XO
+    XH)))))))))), (Npos (XO (XO (XI XH))))), (Npos (XI (XO (XI (XO (XI (XI
+    (XO (XI (XI (XO (XO (XI (XO (XO XH)))))))))))))))) :: ((((((Npos (XI (XO
+    (XI (XI (XI (XO (XI (XI (XI (XO (XO (XI (XO (XO XH))))))))))))))), (Npos
+    (XI (XI (XI (XI (XI (XO (XO (XO XH)))))))))), (Npos (XI (XI (XI (XI (XI
+    (XI (XI (XO XH)))))))))), (Npos (XO (XO (XI XH))))), (Npos (XI (XI (XI
+    (XI (XO (XO (XO (XI (XO (XI (XO (XI (XO (XO
+    XH)))))))))))))))) :: ((((((Npos (XO (XI (XI (XO (XI (XI (XO (XI (XO (XI
+    (XO (XI (XO (XO XH))))))))))))))), (Npos (XO (XI (XI (XO (XI (XI (XI
+    XH))))))))), (Npos (XI (XO (XI (XO (XO (XO (XO (XI XH)))))))))), (Npos
+    (XO (XO (XI XH))))), (Npos (XI (XO (XI (XI (XO (XI (XI (XO (XI (XI (XO
+    (XI (XO (XO XH)))))))))))))))) :: ((((((Npos (XI (XO (XI (XI (XI (XI (XI
+    (XO (XI (XI (XO (XI (XO (XO XH))))))))))))))), (Npos (XO (XI (XI (XI (XI
+    (XO (XI XH))))))))), (Npos (XI (XO (XI (XO (XO (XO (XO (XI XH)))))))))),
+    (Npos (XO (XO (XI XH))))), (Npos (XI (XI (XO (XO (XI (XI (XO (XO (XO (XO
+    (XI (XI (XO (XO XH)))))))))))))))) :: ((((((Npos (XI (XI (XO (XO (XI (XO
+    (XI (XO (XO (XO (XI (XI (XO (XO XH))))))))))))))), (Npos (XI (XI (XO (XO
+    (XI (XI (XO (XO (XO XH))))))))))), (Npos (XI (XO (XI (XI (XO (XO (XO (XI
+    XH)))))))))), (Npos (XO (XO (XI XH))))), (Npos (XI (XI (XI (XI (XO (XO
+    (XO (XO (XI (XO (XI (XI (XO (XO XH)))))))))))))))) :: ((((((Npos (XO (XO
+    (XI (XI (XI (XO (XO (XO (XI (XO (XI (XI (XO (XO XH))))))))))))))), (Npos
+    (XI (XI (XI (XO (XO (XO (XI (XO (XI XH))))))))))), (Npos (XI (XO (XI (XI
+    (XO (XO (XO (XI XH)))))))))), (Npos (XO (XO (XI XH))))), (Npos (XI (XI
+    (XI (XO (XI (XO (XI (XI (XI (XO (XI (XI (XO (XO
+    XH)))))))))))))))) :: ((((((Npos (XI (XI (XO (XO (XO (XI (XI (XI (XI (XO
+    (XI (XI (XO (XO XH))))))))))))))), (Npos (XI (XO (XO (XO (XO (XO (XO (XI
+    (XI XH))))))))))), (Npos (XI (XO (XO (XO (XI (XO (XO (XI XH)))))))))),
+    (Npos (XO (XO (XI XH))))), (Npos (XI (XO (XO (XO (XO (XI (XO (XI (XO (XI
+    (XI (XI (XO (XO XH)))))))))))))))) :: ((((((Npos (XO (XO (XO (XI (XI (XI
+    (XO (XI (XO (XI (XI (XI (XO (XO XH))))))))))))))), (Npos (XI (XO (XO (XI
+    (XI (XO (XO (XI XH)))))))))), (Npos (XI (XO (XO (XO (XI (XO (XO (XI
+    XH)))))))))), (Npos (XO (XO (XI XH))))), (Npos (XI (XO (XI (XO (XI (XI
+    (XI (XO (XI (XI (XI (XI (XO (XO XH)))))))))))))))) :: ((((((Npos (XI (XI
+    (XO (XO (XO (XO (XO (XI (XI (XI (XI (XI (XO (XO XH))))))))))))))), (Npos
+    (XO (XI (XO (XI (XO (XI (XI (XO (XO XH))))))))))), (Npos (XI (XO (XO (XI
+    (XI (XO (XO (XI XH)))))))))), (Npos (XO (XO (XI XH))))), (Npos (XI (XI
+    (XI (XO (XO (XO (XI (XO (XO (XO (XO (XO (XI (XO
+    XH)))))))))))))))) :: ((((((Npos (XO (XO (XI (XO (XI (XO (XI (XO (XO (XO
+    (XO (XO (XI (XO XH))))))))))))))), (Npos (XI (XI (XI (XO (XI (XI (XO (XI
+    XH)))))))))), (Npos (XI (XO (XO (XI (XI (XO (XO (XI XH)))))))))), (Npos
+    (XO (XO (XI XH))))), (Npos (XI (XI (XI (XO (XI (XO (XO (XO (XI (XO (XO
+    (XO (XI (XO XH)))))))))))))))) :: ((((((Npos (XO (XI (XO (XI (XO (XI (XO
+    (XO (XI (XO (XO (XO (XI (XO XH))))))))))))))), (Npos (XI (XI (XI (XI (XI
+    (XO XH)))))))), (Npos (XI (XI (XO (XO (XO (XI (XO (XI XH)))))))))), (Npos
+    (XI (XO (XI XH))))), (Npos (XI (XI (XI (XO (XI (XI (XI (XI (XI (XO (XO
+    (XO (XI (XO XH)))))))))))))))) :: ((((((Npos (XO (XO (XI (XI (XI (XI (XI
+    (XI (XI (XO (XO (XO (XI (XO XH))))))))))))))), (Npos (XO (XO (XO (XO (XO
+    (XO (XI (XI XH)))))))))), (Npos (XI (XI (XO (XO (XO (XI (XO (XI
+    XH)))))))))), (Npos (XI (XO (XI XH))))), (Npos (XI (XI (XI (XO (XO (XO
+    (XI (XI (XO (XI (XO (XO (XI (XO XH)))))))))))))))) :: ((((((Npos (XI (XI
+    (XI (XI (XO (XO (XI (XI (XO (XI (XO (XO (XI (XO XH))))))))))))))), (Npos
+    (XI (XO (XI (XO (XO (XO (XO XH))))))))), (Npos (XI (XI (XO (XO (XO (XI
+    (XO (XI XH)))))))))), (Npos (XI (XO (XI XH))))), (Npos (XI (XO (XO (XI
+    (XI (XO (XO (XI (XI (XI (XO (XO (XI (XO XH)))))))))))))))) :: ((((((Npos
+    (XO (XO (XI (XO (XO (XI (XO (XI (XI (XI (XO (XO (XI (XO
+    XH))))))))))))))), (Npos (XO (XI (XO (XI (XO (XI (XO (XI (XI
+    XH))))))))))), (Npos (XI (XI (XO (XO (XO (XI (XO (XI XH)))))))))), (Npos
+    (XI (XO (XI XH))))), (Npos (XI (XO (XI (XI (XO (XI (XI (XO (XO (XO (XI
+    (XO (XI (XO XH)))))))))))))))) :: ((((((Npos (XI (XO (XI (XI (XI (XI (XI
+    (XO (XO (XO (XI (XO (XI (XO XH))))))))))))))), (Npos (XI (XI (XI (XO (XO
+    (XI (XO (XI XH)))))))))), (Npos (XI (XI (XI (XI (XO (XI (XO (XI
+    XH)))))))))), (Npos (XI (XO (XI XH))))), (Npos (XI (XO (XO (XO (XI (XO
+    (XI (XO (XI (XO (XI (XO (XI (XO XH)))))))))))))))) :: ((((((Npos (XO (XO
+    (XI (XI (XI (XO (XI (XO (XI (XO (XI (XO (XI (XO XH))))))))))))))), (Npos
+    (XO (XI (XO (XI (XI (XO XH)))))))), (Npos (XI (XI (XI (XI (XO (XI (XO (XI
+    XH)))))))))), (Npos (XI (XO (XI XH))))), (Npos (XI (XI (XI (XI (XO (XI
+    (XO (XO (XO (XI (XI (XO (XI (XO XH)))))))))))))))) :: ((((((Npos (XI (XO
+    (XO (XI (XI (XI (XO (XO (XO (XI (XI (XO (XI (XO XH))))))))))))))), (Npos
+    (XO (XO (XO (XO (XO (XO (XO (XI (XO XH))))))))))), (Npos (XI (XI (XI (XI
+    (XO (XI (XO (XI XH)))))))))), (Npos (XI (XO (XI XH))))), (Npos (XI (XI
+    (XO (XI (XO (XO (XO (XO (XI (XI (XI (XO (XI (XO
+    XH)))))))))))))))) :: ((((((Npos (XI (XO (XI (XI (XI (XO (XO (XO (XI (XI
+    (XI (XO (XI (XO XH))))))))))))))), (Npos (XO (XI (XO (XI (XI (XO (XO (XI
+    (XI XH))))))))))), (Npos (XI (XO (XO (XO (XI (XI (XO (XI XH)))))))))),
+    (Npos (XI (XO (XI XH))))), (Npos (XI (XI (XI (XI (XO (XI (XI (XI (XI (XI
+    (XI (XO (XI (XO XH)))))))))))))))) :: ((((((Npos (XO (XO (XO (XI (XO (XO
+    (XO (XO (XO (XO (XO (XI (XI (XO XH))))))))))))))), (Npos (XO (XI (XO (XI
+    (XI (XI (XI XH))))))))), (Npos (XI (XI (XI (XO (XI (XI (XO (XI
+    XH)))))))))), (Npos (XI (XO (XI XH))))), (Npos (XI (XI (XI (XI (XI (XO
+    (XI (XI (XO (XO (XO (XI (XI (XO XH)))))))))))))))) :: ((((((Npos (XI (XI
+    (XO (XI (XI (XI (XI (XI (XO (XO (XO (XI (XI (XO XH))))))))))))))), (Npos
+    (XI (XI (XI (XI (XO (XI (XI (XO XH)))))))))), (Npos (XI (XI (XI (XO (XI
+    (XI (XO (XI XH)))))))))), (Npos (XI (XO (XI XH))))), (Npos (XI (XO (XO
+    (XO (XI (XO (XI (XI (XI (XO (XO (XI (XI (XO
+    XH)))))))))))))))) :: ((((((Npos (XO (XI (XO (XO (XO (XI (XI (XI (XI (XO
+    (XO (XI (XI (XO XH))))))))))))))), (Npos (XI (XI (XI (XI (XI (XI (XO (XI
+    XH)))))))))), (Npos (XI (XI (XO (XI (XI (XI (XO (XI XH)))))))))), (Npos
+    (XI (XO (XI XH))))), (Npos (XI (XI (XO (XI (XI (XI (XO (XI (XO (XI (XO
+    (XI (XI (XO XH)))))))))))))))) :: ((((((Npos (XO (XO (XI (XO (XI (XO (XI
+    (XI (XO (XI (XO (XI (XI (XO XH))))))))))))))), (Npos (XI (XI (XI (XI (XO
+    (XI (XO (XO (XO XH))))))))))), (Npos (XI (XO (XO (XO (XO (XO (XI (XI
+    XH)))))))))), (Npos (XI (XO (XI XH))))), (Npos (XI (XO (XO (XO (XI (XI
+    (XO (XI (XI (XI (XO (XI (XI (XO XH)))))))))))))))) :: ((((((Npos (XI (XI
+    (XO (XO (XO (XO (XI (XI (XI (XI (XO (XI (XI (XO XH))))))))))))))), (Npos
+    (XI (XO (XO (XI (XI (XI XH)))))))), (Npos (XI (XO (XO (XI (XO (XO (XI (XI
+    XH)))))))))), (Npos (XI (XO (XI XH))))), (Npos (XI (XI (XI (XO (XO (XI
+    (XO (XI (XO (XO (XI (XI (XI (XO XH)))))))))))))))) :: ((((((Npos (XO (XI
+    (XO (XO (XI (XI (XO (XI (XO (XO (XI (XI (XI (XO XH))))))))))))))), (Npos
+    (XI (XI (XI (XI (XO (XI (XI (XO (XO XH))))))))))), (Npos (XI (XO (XO (XI
+    (XO (XO (XI (XI XH)))))))))), (Npos (XI (XO (XI XH))))), (Npos (XI (XO
+    (XI (XO (XI (XO (XO (XI (XI (XO (XI (XI (XI (XO
+    XH)))))))))))))))) :: ((((((Npos (XI (XI (XO (XO (XO (XI (XO (XI (XI (XO
+    (XI (XI (XI (XO XH))))))))))))))), (Npos (XO (XI (XO (XO (XO (XO (XI (XI
+    XH)))))))))), (Npos (XI (XO (XO (XI (XO (XO (XI (XI XH)))))))))), (Npos
+    (XI (XO (XI XH))))), (Npos (XI (XO (XI (XO (XO (XO (XO (XI (XO (XI (XI
+    (XI (XI (XO XH)))))))))))))))) :: ((((((Npos (XI (XI (XI (XO (XI (XO (XO
+    (XI (XO (XI (XI (XI (XI (XO XH))))))))))))))), (Npos (XI (XO (XI (XI (XI
+    (XI (XI XH))))))))), (Npos (XI (XO (XI (XI (XO (XO (XI (XI XH)))))))))),
+    (Npos (XI (XO (XI XH))))), (Npos (XI (XI (XO (XI (XI (XI (XI (XO (XI (XI
+    (XI (XI (XI (XO XH)))))))))))))))) :: ((((((Npos (XO (XO (XI (XI (XI (XO
+    (XO (XI (XI (XI (XI (XI (XI (XO XH))))))))))))))), (Npos (XO (XI (XO (XI
+    (XO (XI XH)))))))), (Npos (XI (XI (XO (XO (XI (XO (XI (XI XH)))))))))),
+    (Npos (XI (XO (XI XH))))), (Npos (XI (XO (XI (XO (XO (XO (XO (XI (XO (XO
+    (XO (XO (XO (XI XH)))))))))))))))) :: ((((((Npos (XI (XO (XO (XO (XI (XO
+    (XO (XI (XO (XO (XO (XO (XO (XI XH))))))))))))))), (Npos (XI (XI (XI (XI
+    (XI (XO (XI (XO (XI XH))))))))))), (Npos (XI (XI (XO (XO (XI (XO (XI (XI
+    XH)))))))))), (Npos (XI (XO (XI XH))))), (Npos (XI (XO (XO (XI (XI (XI
+    (XI (XO (XI (XO (XO (XO (XO (XI XH)))))))))))))))) :: ((((((Npos (XO (XO
+    (XO (XO (XI (XO (XO (XI (XI (XO (XO (XO (XO (XI XH))))))))))))))), (Npos
+    (XO (XO (XI (XO (XI (XO (XO XH))))))))), (Npos (XI (XI (XI (XI (XI (XO
+    (XI (XI XH)))))))))), (Npos (XI (XO (XI XH))))), (Npos (XI (XI (XO (XO
+    (XO (XO (XO (XI (XO (XI (XO (XO (XO (XI XH)))))))))))))))) :: ((((((Npos
+    (XO (XI (XI (XI (XO (XO (XO (XI (XO (XI (XO (XO (XO (XI
+    XH))))))))))))))), (Npos (XI (XI (XO (XI (XO (XI (XO (XI XH)))))))))),
+    (Npos (XI (XI (XI (XI (XI (XO (XI (XI XH)))))))))), (Npos (XI (XO (XI
+    XH))))), (Npos (XI (XI (XI (XI (XI (XI (XI (XO (XI (XI (XO (XO (XO (XI
+    XH)))))))))))))))) :: ((((((Npos (XI (XO (XI (XO (XI (XO (XO (XI (XI (XI
+    (XO (XO (XO (XI XH))))))))))))))), (Npos (XO (XI (XO (XI (XO (XO (XO
+    XH))))))))), (Npos (XI (XI (XI (XI (XI (XO (XI (XI XH)))))))))), (Npos
+    (XI (XO (XI XH))))), (Npos (XI (XO (XI (XO (XO (XO (XO (XI (XO (XO (XI
+    (XO (XO (XI XH)))))))))))))))) :: ((((((Npos (XO (XO (XI (XI (XI (XO (XO
+    (XI (XO (XO (XI (XO (XO (XI XH))))))))))))))), (Npos (XO (XI (XO (XI (XI
+    (XO (XO (XO (XI XH))))))))))), (Npos (XI (XI (XI (XO (XO (XI (XI (XI
+    XH)))))))))), (Npos (XI (XO (XI XH))))), (Npos (XI (XI (XO (XO (XI (XO
+    (XO (XI (XI (XO (XI (XO (XO (XI XH)))))))))))))))) :: ((((((Npos (XO (XI
+    (XI (XO (XO (XI (XO (XI (XI (XO (XI (XO (XO (XI XH))))))))))))))), (Npos
+    (XI (XI (XI (XO (XI (XI (XI XH))))))))), (Npos (XI (XI (XI (XO (XO (XI
+    (XI (XI XH)))))))))), (Npos (XI (XO (XI XH))))), (Npos (XI (XI (XO (XI
+    (XI (XO (XO (XI (XO (XI (XI (XO (XO (XI XH)))))))))))))))) :: ((((((Npos
+    (XI (XI (XO (XO (XI (XI (XO (XI (XO (XI (XI (XO (XO (XI
+    XH))))))))))))))), (Npos (XO (XI (XO (XO (XI (XI (XO (XO (XO
+    XH))))))))))), (Npos (XI (XI (XO (XI (XO (XI (XI (XI XH)))))))))), (Npos
+    (XI (XO (XI XH))))), (Npos (XI (XI (XO (XI (XO (XI (XO (XI (XI (XI (XI
+    (XO (XO (XI XH)))))))))))))))) :: ((((((Npos (XO (XI (XI (XO (XO (XO (XI
+    (XI (XI (XI (XI (XO (XO (XI XH))))))))))))))), (Npos (XI (XO (XI (XO (XI
+    XH))))))), (Npos (XI (XI (XO (XO (XI (XI (XI (XI XH)))))))))), (Npos (XI
+    (XO (XI XH))))), (Npos (XI (XO (XI (XO (XO (XO (XI (XI (XO (XO (XO (XI
+    (XO (XI XH)))))))))))))))) :: ((((((Npos (XO (XI (XI (XO (XI (XO (XI (XI
+    (XO (XO (XO (XI (XO (XI XH))))))))))))))), (Npos (XI (XI (XI (XO (XO (XO
+    (XO XH))))))))), (Npos (XI (XI (XO (XO (XI (XI (XI (XI XH)))))))))),
+    (Npos (XI (XO (XI XH))))), (Npos (XI (XI (XO (XO (XI (XO (XI (XI (XI (XO
+    (XO (XI (XO (XI XH)))))))))))))))) :: ((((((Npos (XI (XI (XI (XO (XO (XI
+    (XI (XI (XI (XO (XO (XI (XO (XI XH))))))))))))))), (Npos (XI (XO (XI (XO
+    XH)))))), (Npos (XI (XI (XI (XO (XI (XI (XI (XI XH)))))))))), (Npos (XI
+    (XO (XI XH))))), (Npos (XI (XI (XI (XO (XO (XI (XI (XI (XO (XI (XO (XI
+    (XO (XI XH)))))))))))))))) :: ((((((Npos (XO (XO (XO (XO (XO (XO (XO (XO
+    (XI (XI (XO (XI (XO (XI XH))))))))))))))), (Npos (XI (XO (XO (XI (XO (XO
+    (XI XH))))))))), (Npos (XI (XO (XI (XI (XI (XI (XI (XI XH)))))))))),
+    (Npos (XI (XO (XI XH))))), (Npos (XI (XO (XI (XO (XO (XO (XO (XO (XO (XO
+    (XI (XI (XO (XI XH)))))))))))))))) :: ((((((Npos (XO (XI (XO (XO (XO (XI
+    (XO (XO (XO (XO (XI (XI (XO (XI XH))))))))))))))), (Npos (XI (XO (XO (XI
+    (XO (XI (XO XH))))))))), (Npos (XI (XO (XO (XI (XO (XO (XO (XO (XO
+    XH))))))))))), (Npos (XI (XO (XI XH))))), (Npos (XI (XO (XO (XO (XI (XI
+    (XO (XO (XI (XO (XI (XI (XO (XI XH)))))))))))))))) :: ((((((Npos (XI (XI
+    (XI (XO (XI (XI (XO (XO (XI (XO (XI (XI (XO (XI XH))))))))))))))), (Npos
+    (XO (XI (XI (XO (XO (XO XH)))))))), (Npos (XI (XO (XO (XI (XO (XO (XO (XO
+    (XO XH))))))))))), (Npos (XI (XO (XI XH))))), (Npos (XI (XO (XI (XO (XO
+    (XO (XI (XO (XO (XI (XI (XI (XO (XI XH)))))))))))))))) :: ((((((Npos (XO
+    (XO (XO (XI (XI (XO (XI (XO (XO (XI (XI (XI (XO (XI XH))))))))))))))),
+    (Npos (XO (XI (XO (XO (XO (XO (XO (XI XH)))))))))), (Npos (XI (XO (XO (XI
+    (XO (XO (XO (XO (XO XH))))))))))), (Npos (XI (XO (XI XH))))), (Npos (XI
+    (XO (XI (XO (XO (XI (XI (XO (XI (XI (XI (XI (XO (XI
+    XH)))))))))))))))) :: ((((((Npos (XO (XO (XI (XO (XO (XO (XO (XI (XI (XI
+    (XI (XI (XO (XI XH))))))))))))))), (Npos (XO (XI (XO (XO (XO (XI (XI
+    XH))))))))), (Npos (XI (XI (XO (XI (XO (XO (XO (XO (XO XH))))))))))),
+    (Npos (XI (XO (XI XH))))), (Npos (XI (XO (XO (XO (XI (XO (XO (XI (XO (XO
+    (XO (XO (XI (XI XH)))))))))))))))) :: ((((((Npos (XI (XO (XI (XI (XO (XI
+    (XO (XI (XO (XO (XO (XO (XI (XI XH))))))))))))))), (Npos (XI XH))), (Npos
+    (XI (XO (XI (XI (XI (XO (XO (XO (XO XH))))))))))), (Npos (XI (XO (XI
+    XH))))), (Npos (XI (XI (XO (XI (XO (XO (XI (XI (XI (XO (XO (XO (XI (XI
+    XH)))))))))))))))) :: ((((((Npos (XO (XI (XO (XO (XI (XO (XI (XI (XI (XO
+    (XO (XO (XI (XI XH))))))))))))))), (Npos (XI (XO (XO (XO (XO (XO (XO (XO
+    (XI XH))))))))))), (Npos (XI (XO (XI (XI (XI (XO (XO (XO (XO
+    XH))))))))))), (Npos (XI (XO (XI XH))))), (Npos (XI (XI (XI (XI (XO (XI
+    (XI (XI (XO (XI (XO (XO (XI (XI XH)))))))))))))))) :: ((((((Npos (XO (XI
+    (XO (XI (XI (XI (XI (XI (XO (XI (XO (XO (XI (XI XH))))))))))))))), (Npos
+    (XO (XI (XI (XI (XO (XO (XI (XO (XO XH))))))))))), (Npos (XI (XO (XI (XI
+    (XI (XO (XO (XO (XO XH))))))))))), (Npos (XI (XO (XI XH))))), (Npos (XI
+    (XO (XI (XO (XI (XO (XO (XO (XO (XO (XI (XO (XI (XI
+    XH)))))))))))))))) :: ((((((Npos (XI (XI (XO (XO (XO (XI (XO (XO (XO (XO
+    (XI (XO (XI (XI XH))))))))))))))), (Npos (XO (XO (XO (XO (XO (XI (XO (XI
+    (XO XH))))))))))), (Npos (XI (XO (XI (XI (XI (XO (XO (XO (XO
+    XH))))))))))), (Npos (XI (XO (XI XH))))), (Npos (XI (XO (XI (XI (XI (XI
+    (XO (XO (XI (XO (XI (XO (XI (XI XH)))))))))))))))) :: ((((((Npos (XI (XO
+    (XI (XO (XI (XO (XI (XO (XI (XO (XI (XO (XI (XI XH))))))))))))))), (Npos
+    (XI (XO (XO (XI (XO (XO (XI (XI (XO XH))))))))))), (Npos (XI (XI (XO (XO
+    (XO (XI (XO (XO (XO XH))))))))))), (Npos (XI (XO (XI XH))))), (Npos (XI
+    (XI (XO (XO (XI (XI (XI (XO (XO (XI (XI (XO (XI (XI
+    XH)))))))))))))))) :: ((((((Npos (XO (XI (XO (XI (XO (XO (XO (XI (XO (XI
+    (XI (XO (XI (XI XH))))))))))))))), (Npos (XI (XI (XI (XO (XO (XO (XI (XI
+    (XI XH))))))))))), (Npos (XI (XI (XO (XO (XO (XI (XO (XO (XO
+    XH))))))))))), (Npos (XI (XO (XI XH))))), (Npos (XI (XI (XI (XO (XO (XI
+    (XO (XI (XI (XI (XI (XO (XI (XI XH)))))))))))))))) :: ((((((Npos (XO (XI
+    (XI (XI (XI (XI (XO (XI (XI (XI (XI (XO (XI (XI XH))))))))))))))), (Npos
+    (XO (XO (XO (XO (XI (XI (XI (XO XH)))))))))), (Npos (XI (XO (XI (XI (XO
+    (XI (XO (XO (XO XH))))))))))), (Npos (XO (XI (XI XH))))), (Npos (XI (XO
+    (XI (XO (XO (XI (XI (XI (XO (XO (XO (XI (XI (XI
+    XH)))))))))))))))) :: ((((((Npos (XO (XI (XI (XI (XI (XI (XI (XI (XO (XO
+    (XO (XI (XI (XI XH))))))))))))))), (Npos (XO (XO (XI (XI (XI (XO (XI (XO
+    XH)))))))))), (Npos (XI (XO (XI (XI (XO (XI (XO (XO (XO XH))))))))))),
+    (Npos (XO (XI (XI XH))))), (Npos (XI (XI (XO (XO (XO (XI (XO (XO (XO (XI
+    (XO (XI (XI (XI XH)))))))))))))))) :: ((((((Npos (XI (XO (XI (XO (XI (XI
+    (XO (XO (XO (XI (XO (XI (XI (XI XH))))))))))))))), (Npos (XI (XI (XI (XO
+    (XI (XI XH)))))))), (Npos (XI (XI (XO (XO (XI (XI (XO (XO (XO
+    XH))))))))))), (Npos (XO (XI (XI XH))))), (Npos (XI (XI (XI (XI (XI (XO
+    (XI (XO (XI (XI (XO (XI (XI (XI XH)))))))))))))))) :: ((((((Npos (XI (XO
+    (XI (XO (XI (XI (XI (XO (XI (XI (XO (XI (XI (XI XH))))))))))))))), (Npos
+    (XI (XI (XI (XO (XI (XI (XI (XI XH)))))))))), (Npos (XI (XO (XO (XI (XI
+    (XI (XO (XO (XO XH))))))))))), (Npos (XO (XI (XI XH))))), (Npos (XI (XI
+    (XO (XO (XO (XI (XO (XI (XO (XO (XI (XI (XI (XI
+    XH)))))))))))))))) :: ((((((Npos (XO (XO (XI (XI (XO (XO (XI (XI (XO (XO
+    (XI (XI (XI (XI XH))))))))))))))), (Npos (XI (XO (XI (XO (XI (XI (XO
+    XH))))))))), (Npos (XI (XI (XO (XI (XI (XI (XO (XO (XO XH))))))))))),
+    (Npos (XO (XI (XI XH))))), (Npos (XI (XI (XO (XI (XI (XI (XI (XI (XI (XO
+    (XI (XI (XI (XI XH)))))))))))))))) :: ((((((Npos (XO (XO (XO (XO (XI (XO
+    (XO (XO (XO (XI (XI (XI (XI (XI XH))))))))))))))), (Npos (XO (XI (XO (XI
+    (XO (XO (XO (XI XH)))))))))), (Npos (XI (XO (XO (XO (XO (XO (XI (XO (XO
+    XH))))))))))), (Npos (XO (XI (XI XH))))), (Npos (XI (XI (XO (XO (XO (XO
+    (XI (XO (XI (XI (XI (XI (XI (XI XH)))))))))))))))) :: ((((((Npos (XI (XO
+    (XO (XI (XI (XO (XI (XO (XI (XI (XI (XI (XI (XI XH))))))))))))))), (Npos
+    (XI (XO (XI (XI (XI (XI (XO XH))))))))), (Npos (XI (XI (XO (XI (XO (XO
+    (XI (XO (XO XH))))))))))), (Npos (XO (XI (XI XH))))), (Npos (XI (XO (XI
+    (XO (XI (XO (XO (XI (XO (XO (XO (XO (XO (XO (XO
+    XH))))))))))))))))) :: ((((((Npos (XO (XO (XI (XO (XO (XI (XO (XI (XO (XO
+    (XO (XO (XO (XO (XO XH)))))))))))))))), (Npos (XO (XI (XO (XO (XI (XO (XI
+    XH))))))))), (Npos (XI (XI (XO (XI (XO (XO (XI (XO (XO XH))))))))))),
+    (Npos (XO (XI (XI XH))))), (Npos (XI (XI (XI (XI (XI (XO (XI (XI (XI (XO
+    (XO (XO (XO (XO (XO XH))))))))))))))))) :: ((((((Npos (XO (XI (XO (XO (XO
+    (XO (XO (XO (XO (XI (XO (XO (XO (XO (XO XH)))))))))))))))), (Npos (XO (XI
+    (XI (XI (XI XH))))))), (Npos (XI (XO (XO (XO (XI (XO (XI (XO (XO
+    XH))))))))))), (Npos (XO (XI (XI XH))))), (Npos (XI (XO (XO (XO (XO (XO
+    (XI (XO (XI (XI (XO (XO (XO (XO (XO XH))))))))))))))))) :: ((((((Npos (XI
+    (XI (XI (XO (XI (XO (XI (XO (XI (XI (XO (XO (XO (XO (XO
+    XH)))))))))))))))), (Npos (XI (XO (XO (XO (XI (XO (XO (XO XH)))))))))),
+    (Npos (XI (XO (XO (XO (XI (XO (XI (XO (XO XH))))))))))), (Npos (XO (XI
+    (XI XH))))), (Npos (XI (XO (XI (XO (XI (XO (XO (XI (XO (XO (XI (XO (XO
+    (XO (XO XH))))))))))))))))) :: ((((((Npos (XI (XO (XO (XI (XO (XI (XO (XI
+    (XO (XO (XI (XO (XO (XO (XO XH)))))))))))))))), (Npos (XO (XI (XO (XI (XO
+    (XI (XO (XO (XO XH))))))))))), (Npos (XI (XI (XI (XO (XI (XO (XI (XO (XO
+    XH))))))))))), (Npos (XO (XI (XI XH))))), (Npos (XI (XI (XO (XI (XO (XI
+    (XI (XI (XI (XO (XI (XO (XO (XO (XO XH))))))))))))))))) :: ((((((Npos (XO
+    (XI (XI (XI (XI (XI (XI (XI (XI (XO (XI (XO (XO (XO (XO
+    XH)))))))))))))))), (Npos (XO (XO (XO (XI (XO (XI (XO (XI (XI
+    XH))))))))))), (Npos (XI (XI (XI (XI (XI (XO (XI (XO (XO XH))))))))))),
+    (Npos (XO (XI (XI XH))))), (Npos (XI (XI (XI (XO (XO (XO (XI (XO (XI (XI
+    (XI (XO (XO (XO (XO XH))))))))))))))))) :: ((((((Npos (XO (XI (XI (XI (XI
+    (XO (XI (XO (XI (XI (XI (XO (XO (XO (XO XH)))))))))))))))), (Npos (XI (XI
+    (XO (XO (XO (XI (XI (XI XH)))))))))), (Npos (XI (XI (XI (XI (XI (XO (XI
+    (XO (XO XH))))))))))), (Npos (XO (XI (XI XH))))), (Npos (XI (XO (XI (XO
+    (XO (XI (XO (XI (XO (XO (XO (XI (XO (XO (XO
+    XH))))))))))))))))) :: ((((((Npos (XI (XI (XI (XO (XI (XO (XI (XI (XO (XO
+    (XO (XI (XO (XO (XO XH)))))))))))))))), (Npos (XI (XO (XI (XI (XO (XO (XO
+    (XI XH)))))))))), (Npos (XI (XO (XI (XO (XO (XI (XI (XO (XO
+    XH))))))))))), (Npos (XO (XI (XI XH))))), (Npos (XI (XI (XO (XO (XO (XI
+    (XO (XO (XO (XI (XO (XI (XO (XO (XO XH))))))))))))))))) :: ((((((Npos (XI
+    (XI (XO (XO (XO (XO (XI (XO (XO (XI (XO (XI (XO (XO (XO
+    XH)))))))))))))))), (Npos (XI (XO (XO (XO (XI (XI (XI XH))))))))), (Npos
+    (XI (XI (XO (XI (XO (XI (XI (XO (XO XH))))))))))), (Npos (XO (XI (XI
+    XH))))), (Npos (XI (XI (XO (XO (XI (XO (XO (XI (XI (XI (XO (XI (XO (XO
+    (XO XH))))))))))))))))) :: ((((((Npos (XO (XI (XI (XO (XO (XI (XO (XI (XI
+    (XI (XO (XI (XO (XO (XO XH)))))))))))))))), (Npos (XO (XO (XI (XO (XI (XI
+    (XI (XI XH)))))))))), (Npos (XI (XI (XI (XO (XI (XI (XI (XO (XO
+    XH))))))))))), (Npos (XO (XI (XI XH))))), (Npos (XI (XO (XO (XO (XO (XO
+    (XO (XO (XI (XO (XI (XI (XO (XO (XO XH))))))))))))))))) :: ((((((Npos (XO
+    (XO (XO (XO (XI (XO (XO (XO (XI (XO (XI (XI (XO (XO (XO
+    XH)))))))))))))))), (Npos (XO (XO (XI XH))))), (Npos (XI (XI (XI (XO (XI
+    (XI (XI (XO (XO XH))))))))))), (Npos (XO (XI (XI XH))))), (Npos (XI (XO
+    (XO (XI (XO (XI (XI (XO (XO (XI (XI (XI (XO (XO (XO
+    XH))))))))))))))))) :: ((((((Npos (XI (XI (XI (XI (XI (XI (XI (XO (XO (XI
+    (XI (XI (XO (XO (XO XH)))))))))))))))), (Npos (XO (XI (XI (XI (XI (XI (XO
+    (XI (XI XH))))))))))), (Npos (XI (XO (XO (XO (XO (XO (XO (XI (XO
+    XH))))))))))), (Npos (XO (XI (XI XH))))), (Npos (XI (XO (XO (XO (XO (XI
+    (XI (XI (XI (XI (XI (XI (XO (XO (XO XH))))))))))))))))) :: ((((((Npos (XI
+    (XO (XO (XO (XI (XI (XI (XI (XI (XI (XI (XI (XO (XO (XO
+    XH)))))))))))))))), (Npos (XO (XO (XI (XI (XO (XO (XO (XO (XO
+    XH))))))))))), (Npos (XI (XO (XO (XO (XO (XO (XO (XI (XO XH))))))))))),
+    (Npos (XO (XI (XI XH))))), (Npos (XI (XO (XO (XO (XI (XO (XI (XO (XI (XO
+    (XO (XO (XI (XO (XO XH))))))))))))))))) :: ((((((Npos (XI (XI (XO (XI (XO
+    (XI (XI (XO (XI (XO (XO (XO (XI (XO (XO XH)))))))))))))))), (Npos (XO (XO
+    (XO XH))))), (Npos (XI (XI (XO (XO (XO (XO (XO (XI (XO XH))))))))))),
+    (Npos (XO (XI (XI XH))))), (Npos (XI (XI (XO (XI (XO (XO (XI (XI (XO (XI
+    (XO (XO (XI (XO (XO XH))))))))))))))))) :: ((((((Npos (XO (XI (XI (XO (XO
+    (XI (XI (XI (XO (XI (XO (XO (XI (XO (XO XH)))))))))))))))), (Npos (XO (XO
+    (XI (XO (XO (XI XH)))))))), (Npos (XI (XO (XI (XI (XO (XO (XO (XI (XO
+    XH))))))))))), (Npos (XO (XI (XI XH))))), (Npos (XI (XI (XI (XI (XO (XO
+    (XI (XO (XO (XO (XI (XO (XI (XO (XO XH))))))))))))))))) :: ((((((Npos (XO
+    (XO (XO (XI (XO (XI (XI (XO (XO (XO (XI (XO (XI (XO (XO
+    XH)))))))))))))))), (Npos (XI (XI (XO (XO (XI (XO (XI (XO XH)))))))))),
+    (Npos (XI (XO (XI (XI (XO (XO (XO (XI (XO XH))))))))))), (Npos (XO (XI
+    (XI XH))))), (Npos (XI (XI (XI (XI (XO (XO (XI (XI (XI (XO (XI (XO (XI
+    (XO (XO XH))))))))))))))))) :: ((((((Npos (XI (XO (XO (XO (XI (XI (XI (XI
+    (XI (XO (XI (XO (XI (XO (XO XH)))))))))))))))), (Npos (XO (XO (XI (XO (XO
+    (XI (XO (XO (XI XH))))))))))), (Npos (XI (XI (XO (XO (XI (XO (XO (XI (XO
+    XH))))))))))), (Npos (XO (XI (XI XH))))), (Npos (XI (XO (XI (XI (XI (XO
+    (XI (XO (XI (XI (XI (XO (XI (XO (XO XH))))))))))))))))) :: ((((((Npos (XI
+    (XI (XO (XO (XO (XO (XO (XI (XI (XI (XI (XO (XI (XO (XO
+    XH)))))))))))))))), (Npos (XO (XI (XI (XI (XI (XI (XI (XI XH)))))))))),
+    (Npos (XI (XO (XO (XO (XO (XI (XO (XI (XO XH))))))))))), (Npos (XO (XI
+    (XI XH))))), (Npos (XI (XI (XO (XI (XI (XI (XI (XI (XO (XO (XO (XI (XI
+    (XO (XO XH))))))))))))))))) :: ((((((Npos (XO (XO (XO (XI (XO (XO (XO (XO
+    (XI (XO (XO (XI (XI (XO (XO XH)))))))))))))))), (Npos (XO (XI (XO (XO
+    XH)))))), (Npos (XI (XO (XO (XO (XO (XI (XO (XI (XO XH))))))))))), (Npos
+    (XO (XI (XI XH))))), (Npos (XI (XI (XI (XI (XI (XI (XI (XO (XO (XI (XO
+    (XI (XI (XO (XO XH))))))))))))))))) :: ((((((Npos (XO (XO (XO (XI (XI (XO
+    (XO (XI (XO (XI (XO (XI (XI (XO (XO XH)))))))))))))))), (Npos (XO (XO (XI
+    (XI (XI (XO (XO (XI XH)))))))))), (Npos (XI (XO (XI (XO (XO (XI (XO (XI
+    (XO XH))))))))))), (Npos (XO (XI (XI XH))))), (Npos (XI (XO (XO (XO (XI
+    (XO (XO (XO (XO (XO (XI (XI (XI (XO (XO XH))))))))))))))))) :: ((((((Npos
+    (XO (XO (XI (XI (XO (XI (XO (XO (XO (XO (XI (XI (XI (XO (XO
+    XH)))))))))))))))), (Npos (XO (XI (XO (XI (XO (XO (XO (XI XH)))))))))),
+    (Npos (XI (XI (XO (XI (XO (XI (XO (XI (XO XH))))))))))), (Npos (XO (XI
+    (XI XH))))), (Npos (XI (XO (XO (XI (XO (XI (XO (XI (XI (XO (XI (XI (XI
+    (XO (XO XH))))))))))))))))) :: ((((((Npos (XO (XI (XI (XI (XO (XO (XI (XI
+    (XI (XO (XI (XI (XI (XO (XO XH)))))))))))))))), (Npos (XO (XI (XI (XI (XI
+    (XI (XO (XO (XI XH))))))))))), (Npos (XI (XI (XO (XO (XI (XI (XO (XI (XO
+    XH))))))))))), (Npos (XI (XI (XI XH))))), (Npos (XI (XI (XO (XO (XI (XO
+    (XI (XO (XI (XI (XI (XI (XI (XO (XO XH))))))))))))))))) :: ((((((Npos (XO
+    (XO (XO (XO (XI (XI (XI (XO (XI (XI (XI (XI (XI (XO (XO
+    XH)))))))))))))))), (Npos (XI (XI (XI (XO (XI (XO (XO (XO (XO
+    XH))))))))))), (Npos (XI (XO (XI (XI (XI (XI (XO (XI (XO XH))))))))))),
+    (Npos (XI (XI (XI XH))))), (Npos (XI (XO (XI (XI (XI (XI (XI (XI (XO (XO
+    (XO (XO (XO (XI (XO XH))))))))))))))))) :: ((((((Npos (XO (XI (XO (XI (XO
+    (XO (XO (XO (XI (XO (XO (XO (XO (XI (XO XH)))))))))))))))), (Npos (XI (XI
+    (XI (XO (XO (XO (XI XH))))))))), (Npos (XI (XO (XI (XI (XI (XI (XO (XI
+    (XO XH))))))))))), (Npos (XI (XI (XI XH))))), (Npos (XI (XO (XI (XO (XI
+    (XO (XO (XI (XO (XI (XO (XO (XO (XI (XO XH))))))))))))))))) :: ((((((Npos
+    (XI (XO (XO (XI (XO (XI (XO (XI (XO (XI (XO (XO (XO (XI (XO
+    XH)))))))))))))))), (Npos (XI (XI (XO (XI XH)))))), (Npos (XI (XO (XI (XO
+    (XO (XO (XI (XI (XO XH))))))))))), (Npos (XI (XI (XI XH))))), (Npos (XI
+    (XI (XO (XI (XI (XI (XO (XO (XO (XO (XI (XO (XO (XI (XO
+    XH))))))))))))))))) :: ((((((Npos (XI (XI (XO (XO (XI (XO (XI (XO (XO (XO
+    (XI (XO (XO (XI (XO XH)))))))))))))))), (Npos (XO (XI (XO (XI (XO (XI (XO
+    (XO XH)))))))))), (Npos (XI (XO (XI (XO (XO (XO (XI (XI (XO
+    XH))))))))))), (Npos (XI (XI (XI XH))))), (Npos (XI (XI (XO (XO (XO (XI
+    (XI (XI (XI (XO (XI (XO (XO (XI (XO XH))))))))))))))))) :: ((((((Npos (XO
+    (XI (XO (XI (XI (XI (XI (XI (XI (XO (XI (XO (XO (XI (XO
+    XH)))))))))))))))), (Npos (XO (XO (XO (XO (XI (XI (XI (XO XH)))))))))),
+    (Npos (XI (XI (XI (XI (XO (XO (XI (XI (XO XH))))))))))), (Npos (XI (XI
+    (XI XH))))), (Npos (XI (XI (XO (XO (XI (XO (XO (XI (XI (XI (XI (XO (XO
+    (XI (XO XH))))))))))))))))) :: ((((((Npos (XO (XO (XI (XO (XO (XI (XO (XI
+    (XI (XI (XI (XO (XO (XI (XO XH)))))))))))))))), (Npos (XI (XI (XO (XO (XI
+    (XI (XI (XI (XO XH))))))))))), (Npos (XI (XI (XI (XO (XI (XO (XI (XI (XO
+    XH))))))))))), (Npos (XI (XI (XI XH))))), (Npos (XI (XI (XO (XO (XO (XO
+    (XI (XO (XI (XO (XO (XI (XO (XI (XO XH))))))))))))))))) :: ((((((Npos (XO
+    (XO (XI (XI (XI (XI (XI (XO (XI (XO (XO (XI (XO (XI (XO
+    XH)))))))))))))))), (Npos (XI (XI (XO (XI (XI (XI (XI (XO XH)))))))))),
+    (Npos (XI (XI (XI (XO (XI (XO (XI (XI (XO XH))))))))))), (Npos (XI (XI
+    (XI XH))))), (Npos (XI (XO (XO (XI (XI (XO (XO (XO (XI (XI (XO (XI (XO
+    (XI (XO XH))))))))))))))))) :: ((((((Npos (XO (XO (XO (XO (XO (XO (XI (XO
+    (XI (XI (XO (XI (XO (XI (XO XH)))))))))))))))), (Npos (XI (XO (XO (XI (XO
+    (XO XH)))))))), (Npos (XI (XO (XI (XI (XI (XO (XI (XI (XO XH))))))))))),
+    (Npos (XI (XI (XI XH))))), (Npos (XI (XO (XO (XO (XO (XI (XI (XI (XO (XO
+    (XI (XI (XO (XI (XO XH))))))))))))))))) :: ((((((Npos (XI (XI (XI (XO (XI
+    (XI (XI (XI (XO (XO (XI (XI (XO (XI (XO XH)))))))))))))))), (Npos (XI (XI
+    (XO (XO (XO (XO (XO (XI XH)))))))))), (Npos (XI (XI (XO (XO (XO (XI (XI
+    (XI (XO XH))))))))))), (Npos (XI (XI (XI XH))))), (Npos (XI (XO (XI (XI
+    (XI (XO (XO (XI (XO (XI (XI (XI (XO (XI (XO
+    XH))))))))))))))))) :: ((((((Npos (XI (XO (XO (XI (XI (XI (XO (XI (XO (XI
+    (XI (XI (XO (XI (XO XH)))))))))))))))), (Npos (XI (XO (XO (XI (XO (XO (XI
+    (XI XH)))))))))), (Npos (XI (XI (XI (XI (XO (XI (XI (XI (XO
+    XH))))))))))), (Npos (XI (XI (XI XH))))), (Npos (XI (XO (XO (XI (XO (XI
+    (XI (XO (XO (XO (XO (XO (XI (XI (XO XH))))))))))))))))) :: ((((((Npos (XI
+    (XI (XI (XI (XI (XI (XI (XO (XO (XO (XO (XO (XI (XI (XO
+    XH)))))))))))))))), (Npos (XI (XO (XO (XI (XI (XI (XI (XI (XO
+    XH))))))))))), (Npos (XI (XI (XI (XI (XO (XI (XI (XI (XO XH))))))))))),
+    (Npos (XI (XI (XI XH))))), (Npos (XI (XO (XI (XI (XO (XI (XO (XO (XO (XI
+    (XO (XO (XI (XI (XO XH))))))))))))))))) :: ((((((Npos (XO (XI (XI (XO (XO
+    (XO (XI (XO (XO (XI (XO (XO (XI (XI (XO XH)))))))))))))))), (Npos (XI (XI
+    (XI (XO (XI (XO (XI (XO (XI XH))))))))))), (Npos (XI (XO (XI (XO (XI (XI
+    (XI (XI (XO XH))))))))))), (Npos (XI (XI (XI XH))))), (Npos (XI (XO (XO
+    (XI (XI (XI (XI (XI (XI (XI (XO (XO (XI (XI (XO
+    XH))))))))))))))))) :: ((((((Npos (XO (XO (XO (XI (XI (XO (XO (XO (XO (XO
+    (XI (XO (XI (XI (XO XH)))))))))))))))), (Npos (XO (XI (XO (XO (XI (XI (XI
+    (XO XH)))))))))), (Npos (XI (XO (XO (XO (XO (XO (XO (XO (XI
+    XH))))))))))), (Npos (XI (XI (XI XH))))), (Npos (XI (XO (XI (XO (XI (XO
+    (XI (XI (XI (XO (XI (XO (XI (XI (XO XH))))))))))))))))) :: ((((((Npos (XO
+    (XI (XI (XI (XO (XI (XI (XI (XI (XO (XI (XO (XI (XI (XO
+    XH)))))))))))))))), (Npos (XI (XO (XI (XO (XO (XO (XO (XO XH)))))))))),
+    (Npos (XI (XO (XO (XO (XO (XO (XO (XO (XI XH))))))))))), (Npos (XI (XI
+    (XI XH))))), (Npos (XI (XO (XO (XI (XO (XI (XO (XI (XI (XI (XI (XO (XI
+    (XI (XO XH))))))))))))))))) :: ((((((Npos (XI (XI (XI (XO (XO (XO (XI (XI
+    (XI (XI (XI (XO (XI (XI (XO XH)))))))))))))))), (Npos (XI (XI (XO (XI (XO
+    (XI (XO (XO XH)))))))))), (Npos (XI (XI (XO (XO (XI (XO (XO (XO (XI
+    XH))))))))))), (Npos (XI (XI (XI XH))))), (Npos (XI (XI (XO (XO (XI (XO
+    (XO (XI (XI (XO (XO (XI (XI (XI (XO XH))))))))))))))))) :: ((((((Npos (XI
+    (XI (XO (XO (XO (XI (XO (XI (XI (XO (XO (XI (XI (XI (XO
+    XH)))))))))))))))), (Npos (XO (XO (XO (XI (XI (XO (XO (XI (XI
+    XH))))))))))), (Npos (XI (XI (XO (XO (XI (XO (XO (XO (XI XH))))))))))),
+    (Npos (XI (XI (XI XH))))), (Npos (XI (XO (XI (XI (XO (XI (XI (XO (XI (XI
+    (XO (XI (XI (XI (XO XH))))))))))))))))) :: ((((((Npos (XI (XI (XI (XO (XO
+    (XO (XO (XI (XI (XI (XO (XI (XI (XI (XO XH)))))))))))))))), (Npos (XI (XO
+    (XI (XI (XO (XO (XO (XO XH)))))))))), (Npos (XI (XI (XO (XO (XI (XO (XO
+    (XO (XI XH))))))))))), (Npos (XI (XI (XI XH))))), (Npos (XI (XI (XI (XI
+    (XO (XO (XI (XO (XI (XO (XI (XI (XI (XI (XO
+    XH))))))))))))))))) :: ((((((Npos (XI (XO (XO (XI (XO (XI (XI (XO (XI (XO
+    (XI (XI (XI (XI (XO XH)))))))))))))))), (Npos (XO (XI (XI (XI (XI (XO (XI
+    (XO (XI XH))))))))))), (Npos (XI (XO (XI (XI (XI (XO (XO (XO (XI
+    XH))))))))))), (Npos (XI (XI (XI XH))))), (Npos (XI (XO (XO (XI (XI (XI
+    (XO (XO (XI (XI (XI (XI (XI (XI (XO XH))))))))))))))))) :: ((((((Npos (XO
+    (XO (XO (XO (XI (XO (XI (XO (XI (XI (XI (XI (XI (XI (XO
+    XH)))))))))))))))), (Npos (XI (XO (XI (XI (XI (XO (XI (XO XH)))))))))),
+    (Npos (XI (XO (XO (XI (XO (XI (XO (XO (XI XH))))))))))), (Npos (XI (XI
+    (XI XH))))), (Npos (XI (XI (XO (XI (XO (XI (XO (XO (XI (XO (XO (XO (XO
+    (XO (XI XH))))))))))))))))) :: ((((((Npos (XO (XI (XI (XI (XI (XI (XO (XO
+    (XI (XO (XO (XO (XO (XO (XI XH)))))))))))))))), (Npos (XI (XI (XI (XO (XO
+    (XI XH)))))))), (Npos (XI (XO (XO (XI (XO (XI (XO (XO (XI XH))))))))))),
+    (Npos (XI (XI (XI XH))))), (Npos (XI (XI (XI (XO (XI (XO (XO (XO (XI (XI
+    (XO (XO (XO (XO (XI XH))))))))))))))))) :: ((((((Npos (XO (XI (XO (XI (XI
+    (XI (XO (XO (XI (XI (XO (XO (XO (XO (XI XH)))))))))))))))), (Npos (XI (XI
+    (XO (XO (XI (XI XH)))))))), (Npos (XI (XO (XI (XO (XI (XI (XO (XO (XI
+    XH))))))))))), (Npos (XI (XI (XI XH))))), (Npos (XI (XO (XI (XI (XI (XO
+    (XO (XO (XI (XO (XI (XO (XO (XO (XI XH))))))))))))))))) :: ((((((Npos (XI
+    (XI (XI (XI (XO (XO (XI (XO (XI (XO (XI (XO (XO (XO (XI
+    XH)))))))))))))))), (Npos (XI (XO (XI (XI (XI (XO XH)))))))), (Npos (XI
+    (XO (XI (XO (XI (XI (XO (XO (XI XH))))))))))), (Npos (XO (XO (XO (XO
+    XH)))))), (Npos (XI (XO (XO (XO (XI (XI (XO (XO (XI (XI (XI (XO (XO (XO
+    (XI XH))))))))))))))))) :: ((((((Npos (XI (XO (XO (XI (XO (XO (XI (XO (XI
+    (XI (XI (XO (XO (XO (XI XH)))))))))))))))), (Npos (XO (XI (XI (XO (XI (XO
+    (XI (XI (XI XH))))))))))), (Npos (XI (XI (XO (XI (XI (XI (XO (XO (XI
+    XH))))))))))), (Npos (XO (XO (XO (XO XH)))))), (Npos (XI (XI (XI (XI (XO
+    (XI (XO (XO (XI (XO (XO (XI (XO (XO (XI XH))))))))))))))))) :: ((((((Npos
+    (XO (XI (XO (XI (XO (XO (XI (XO (XI (XO (XO (XI (XO (XO (XI
+    XH)))))))))))))))), (Npos (XO (XO (XO (XO (XI (XI (XO (XI XH)))))))))),
+    (Npos (XI (XI (XI (XO (XO (XO (XI (XO (XI XH))))))))))), (Npos (XO (XO
+    (XO (XO XH)))))), (Npos (XI (XI (XO (XI (XI (XI (XO (XO (XI (XI (XO (XI
+    (XO (XO (XI XH))))))))))))))))) :: ((((((Npos (XO (XI (XI (XI (XI (XO (XI
+    (XO (XI (XI (XO (XI (XO (XO (XI XH)))))))))))))))), (Npos (XO (XO (XI (XO
+    (XI (XO (XI (XO XH)))))))))), (Npos (XI (XO (XI (XO (XI (XO (XI (XO (XI
+    XH))))))))))), (Npos (XO (XO (XO (XO XH)))))), (Npos (XI (XI (XO (XI (XI
+    (XO (XI (XO (XI (XO (XI (XI (XO (XO (XI XH))))))))))))))))) :: ((((((Npos
+    (XO (XI (XO (XI (XO (XI (XI (XO (XI (XO (XI (XI (XO (XO (XI
+    XH)))))))))))))))), (Npos (XI (XO (XI (XI (XO (XI (XO XH))))))))), (Npos
+    (XI (XO (XI (XO (XI (XO (XI (XO (XI XH))))))))))), (Npos (XO (XO (XO (XO
+    XH)))))), (Npos (XI (XO (XI (XO (XO (XI (XI (XO (XI (XI (XI (XI (XO (XO
+    (XI XH))))))))))))))))) :: ((((((Npos (XO (XI (XO (XI (XI (XI (XI (XO (XI
+    (XI (XI (XI (XO (XO (XI XH)))))))))))))))), (Npos (XI (XO (XI (XO (XO (XI
+    (XO (XI XH)))))))))), (Npos (XI (XO (XO (XI (XI (XO (XI (XO (XI
+    XH))))))))))), (Npos (XO (XO (XO (XO XH)))))), (Npos (XI (XI (XI (XO (XI
+    (XI (XI (XO (XI (XO (XO (XO (XI (XO (XI XH))))))))))))))))) :: ((((((Npos
+    (XO (XI (XO (XO (XI (XO (XO (XI (XI (XO (XO (XO (XI (XO (XI
+    XH)))))))))))))))), (Npos (XO (XI (XO (XI (XO (XO (XI (XO XH)))))))))),
+    (Npos (XI (XI (XI (XI (XI (XO (XI (XO (XI XH))))))))))), (Npos (XO (XO
+    (XO (XO XH)))))), (Npos (XI (XI (XO (XO (XI (XO (XO (XI (XI (XI (XO (XO
+    (XI (XO (XI XH))))))))))))))))) :: ((((((Npos (XO (XO (XI (XI (XO (XI (XO
+    (XI (XI (XI (XO (XO (XI (XO (XI XH)))))))))))))))), (Npos (XO (XO (XO (XO
+    (XI (XI (XI (XO (XO XH))))))))))), (Npos (XI (XO (XI (XI (XO (XI (XI (XO
+    (XI XH))))))))))), (Npos (XO (XO (XO (XO XH)))))), (Npos (XI (XO (XO (XI
+    (XI (XI (XO (XI (XI (XO (XI (XO (XI (XO (XI
+    XH))))))))))))))))) :: ((((((Npos (XI (XI (XI (XI (XO (XO (XI (XI (XI (XO
+    (XI (XO (XI (XO (XI XH)))))))))))))))), (Npos (XI (XO (XO (XI (XO (XI (XI
+    XH))))))))), (Npos (XI (XO (XI (XI (XO (XI (XI (XO (XI XH))))))))))),
+    (Npos (XO (XO (XO (XO XH)))))), (Npos (XI (XI (XO (XI (XI (XO (XI (XI (XI
+    (XI (XI (XO (XI (XO (XI XH))))))))))))))))) :: ((((((Npos (XI (XO (XO (XI
+    (XI (XI (XI (XI (XI (XI (XI (XO (XI (XO (XI XH)))))))))))))))), (Npos (XO
+    (XI (XO (XI (XO (XI (XI (XO XH)))))))))), (Npos (XI (XI (XO (XO (XI (XI
+    (XI (XO (XI XH))))))))))), (Npos (XO (XO (XO (XO XH)))))), (Npos (XI (XO
+    (XO (XI (XO (XO (XO (XO (XO (XI (XO (XI (XI (XO (XI
+    XH))))))))))))))))) :: ((((((Npos (XI (XI (XO (XO (XO (XI (XO (XO (XO (XI
+    (XO (XI (XI (XO (XI XH)))))))))))))))), (Npos (XI (XI (XO (XO (XO (XO (XI
+    (XI (XI XH))))))))))), (Npos (XI (XI (XO (XI (XO (XO (XO (XI (XI
+    XH))))))))))), (Npos (XO (XO (XO (XO XH)))))), (Npos (XI (XO (XO (XI (XO
+    (XO (XI (XO (XO (XO (XI (XI (XI (XO (XI XH))))))))))))))))) :: ((((((Npos
+    (XI (XI (XO (XO (XI (XO (XI (XO (XO (XO (XI (XI (XI (XO (XI
+    XH)))))))))))))))), (Npos (XI (XI (XI (XO (XI (XO (XI (XI XH)))))))))),
+    (Npos (XI (XI (XO (XI (XO (XO (XO (XI (XI XH))))))))))), (Npos (XO (XO
+    (XO (XO XH)))))), (Npos (XI (XI (XI (XO (XI (XI (XI (XO (XO (XI (XI (XI
+    (XI (XO (XI
+    XH))))))))))))))))) :: []))))))))))))))))))))))))))))))))))))))))))))))))))))))))))))))))))))))))))))))))))))))))))))))))))))))))))))))))))))))))))))))))))))))))))))))))))))))))))))))))))))))))))))))))))))))))))))))))))))))))))))))))))))))))))))))))))))))))))))))))))))))))))))))))))))))))))))))))))))))))))))))))))))))))))))))))))))))))))))))))))))))))))))))))))))))))))))))))))))))))))))))))))))))))))))))))))))))))))))))))))))))))))))))))))))))))))))))))))))))))))))))))))))))))))))))))))))))))))))
+
+(** val p1_TABLE : (n * n) list **)
+
+let p1_TABLE =
+  ((Npos (XO (XI (XO XH)))), (Npos (XI (XI (XO XH))))) :: (((Npos (XO (XO (XI
+    XH)))), (Npos (XI (XI (XO XH))))) :: (((Npos (XO (XI (XO (XO XH))))),
+    (Npos (XI (XI (XO XH))))) :: (((Npos (XO (XO (XI (XO XH))))), (Npos (XI
+    (XI (XO XH))))) :: (((Npos (XO (XI (XO (XI XH))))), (Npos (XI (XI (XO
+    XH))))) :: (((Npos (XO (XI (XI (XI XH))))), (Npos (XI (XI (XO
+    XH))))) :: (((Npos (XO (XO (XO (XO (XO XH)))))), (Npos (XI (XI (XO
+    XH))))) :: (((Npos (XO (XO (XI (XO (XO XH)))))), (Npos (XI (XI (XO
+    XH))))) :: (((Npos (XO (XI (XO (XI (XO XH)))))), (Npos (XI (XI (XO
+    XH))))) :: (((Npos (XO (XI (XI (XI (XO XH)))))), (Npos (XI (XI (XO
+    XH))))) :: (((Npos (XO (XO (XO (XO (XI XH)))))), (Npos (XI (XI (XO
+    XH))))) :: (((Npos (XI (XO (XO (XO (XI XH)))))), (Npos (XI (XI (XO
+    XH))))) :: (((Npos (XI (XI (XI (XO (XI XH)))))), (Npos (XI (XI (XO
+    XH))))) :: (((Npos (XO (XO (XI (XI (XI XH)))))), (Npos (XI (XO (XI
+    XH))))) :: (((Npos (XO (XI (XI (XI (XI XH)))))), (Npos (XI (XO (XI
+    XH))))) :: (((Npos (XI (XO (XI (XO (XO (XO XH))))))), (Npos (XI (XO (XI
+    XH))))) :: (((Npos (XI (XI (XO (XI (XO (XO XH))))))), (Npos (XI (XO (XI
+    XH))))) :: (((Npos (XO (XO (XI (XO (XI (XO XH))))))), (Npos (XI (XO (XO
+    (XO XH)))))) :: (((Npos (XO (XO (XO (XI (XI (XO XH))))))), (Npos (XI (XO
+    (XO (XO XH)))))) :: (((Npos (XI (XI (XO (XI (XI (XO XH))))))), (Npos (XI
+    (XO (XO (XO XH)))))) :: (((Npos (XI (XI (XI (XI (XI (XO XH))))))), (Npos
+    (XI (XO (XO (XO XH)))))) :: (((Npos (XI (XO (XO (XO (XO (XI XH))))))),
+    (Npos (XI (XO (XO (XO XH)))))) :: (((Npos (XI (XO (XI (XO (XO (XI
+    XH))))))), (Npos (XI (XO (XO (XO XH)))))) :: (((Npos (XO (XI (XO (XO (XI
+    (XI XH))))))), (Npos (XI (XO (XO (XO XH)))))) :: (((Npos (XI (XI (XI (XO
+    (XI (XI XH))))))), (Npos (XI (XO (XO (XO XH)))))) :: (((Npos (XI (XO (XI
+    (XI (XI (XI XH))))))), (Npos (XI (XO (XO (XO XH)))))) :: (((Npos (XI (XI
+    (XI (XI (XI (XI XH))))))), (Npos (XI (XO (XO (XO XH)))))) :: (((Npos (XO
+    (XI (XO (XI (XO (XO (XO XH)))))))), (Npos (XI (XI (XO (XO
+    XH)))))) :: (((Npos (XO (XO (XI (XI (XO (XO (XO XH)))))))), (Npos (XI (XI
+    (XO (XO XH)))))) :: (((Npos (XI (XO (XI (XO (XI (XO (XO XH)))))))), (Npos
+    (XI (XI (XO (XO XH)))))) :: (((Npos (XI (XO (XO (XI (XI (XO (XO
+    XH)))))))), (Npos (XI (XI (XO (XO XH)))))) :: (((Npos (XO (XO (XO (XO (XO
+    (XI (XO XH)))))))), (Npos (XI (XI (XI (XO XH)))))) :: (((Npos (XO (XI (XI
+    (XO (XO (XI (XO XH)))))))), (Npos (XI (XI (XI (XO XH)))))) :: (((Npos (XO
+    (XO (XO (XI (XO (XI (XO XH)))))))), (Npos (XI (XI (XI (XO
+    XH)))))) :: (((Npos (XI (XI (XO (XO (XI (XI (XO XH)))))))), (Npos (XI (XI
+    (XI (XO XH)))))) :: (((Npos (XI (XO (XI (XO (XI (XI (XO XH)))))))), (Npos
+    (XI (XI (XI (XO XH)))))) :: (((Npos (XI (XO (XO (XI (XI (XI (XO
+    XH)))))))), (Npos (XI (XI (XI (XO XH)))))) :: (((Npos (XI (XI (XO (XI (XI
+    (XI (XO XH)))))))), (Npos (XI (XI (XI (XO XH)))))) :: (((Npos (XO (XO (XO
+    (XI (XO (XO (XI XH)))))))), (Npos (XI (XI (XI (XO XH)))))) :: (((Npos (XI
+    (XO (XI (XO (XI (XO (XI XH)))))))), (Npos (XI (XI (XI (XO
+    XH)))))) :: (((Npos (XI (XO (XO (XI (XI (XO (XI XH)))))))), (Npos (XI (XI
+    (XI (XO XH)))))) :: (((Npos (XI (XO (XO (XO (XO (XI (XI XH)))))))), (Npos
+    (XI (XI (XI (XO XH)))))) :: (((Npos (XO (XO (XI (XI (XO (XI (XI
+    XH)))))))), (Npos (XI (XO (XI (XI XH)))))) :: (((Npos (XO (XI (XO (XO (XI
+    (XI (XI XH)))))))), (Npos (XI (XO (XI (XI XH)))))) :: (((Npos (XO (XO (XO
+    (XI (XI (XI (XI XH)))))))), (Npos (XI (XO (XI (XI XH)))))) :: (((Npos (XI
+    (XO (XO (XO (XO (XO (XO (XO XH))))))))), (Npos (XI (XO (XI (XI
+    XH)))))) :: (((Npos (XI (XI (XI (XO (XO (XO (XO (XO XH))))))))), (Npos
+    (XI (XO (XI (XI XH)))))) :: (((Npos (XI (XO (XI (XI (XO (XO (XO (XO
+    XH))))))))), (Npos (XI (XO (XI (XI XH)))))) :: (((Npos (XO (XO (XO (XI
+    (XI (XO (XO (XO XH))))))))), (Npos (XI (XO (XI (XI XH)))))) :: (((Npos
+    (XI (XI (XI (XO (XO (XI (XO (XO XH))))))))), (Npos (XI (XO (XI (XI
+    XH)))))) :: (((Npos (XI (XO (XI (XI (XO (XI (XO (XO XH))))))))), (Npos
+    (XI (XO (XI (XI XH)))))) :: (((Npos (XI (XO (XO (XO (XI (XI (XO (XO
+    XH))))))))), (Npos (XI (XO (XI (XI XH)))))) :: (((Npos (XO (XO (XI (XO
+    (XO (XO (XI (XO XH))))))))), (Npos (XI (XO (XI (XI XH)))))) :: (((Npos
+    (XI (XO (XO (XO (XI (XO (XI (XO XH))))))))), (Npos (XI (XO (XI (XI
+    XH)))))) :: (((Npos (XI (XO (XI (XO (XI (XO (XI (XO XH))))))))), (Npos
+    (XI (XO (XI (XI XH)))))) :: (((Npos (XI (XI (XO (XI (XI (XO (XI (XO
+    XH))))))))), (Npos (XI (XO (XI (XI XH)))))) :: (((Npos (XI (XI (XO (XO
+    (XO (XI (XI (XO XH))))))))), (Npos (XI (XO (XI (XI XH)))))) :: (((Npos
+    (XO (XI (XO (XI (XO (XI (XI (XO XH))))))))), (Npos (XI (XI (XI (XI
+    XH)))))) :: (((Npos (XO (XO (XO (XO (XI (XI (XI (XO XH))))))))), (Npos
+    (XI (XI (XI (XI XH)))))) :: (((Npos (XO (XO (XI (XO (XI (XI (XI (XO
+    XH))))))))), (Npos (XI (XI (XI (XI XH)))))) :: (((Npos (XO (XO (XI (XI
+    (XI (XI (XI (XO XH))))))))), (Npos (XI (XI (XI (XI XH)))))) :: (((Npos
+    (XI (XO (XO (XO (XO (XO (XO (XI XH))))))))), (Npos (XI (XI (XI (XI
+    XH)))))) :: (((Npos (XI (XO (XO (XI (XO (XO (XO (XI XH))))))))), (Npos
+    (XI (XI (XI (XI XH)))))) :: (((Npos (XI (XO (XI (XO (XI (XO (XO (XI
+    XH))))))))), (Npos (XI (XI (XI (XI XH)))))) :: (((Npos (XO (XI (XO (XO
+    (XO (XI (XO (XI XH))))))))), (Npos (XI (XO (XI (XO (XO
+    XH))))))) :: (((Npos (XO (XO (XI (XI (XO (XI (XO (XI XH))))))))), (Npos
+    (XI (XO (XI (XO (XO XH))))))) :: (((Npos (XO (XI (XO (XO (XI (XI (XO (XI
+    XH))))))))), (Npos (XI (XO (XI (XO (XO XH))))))) :: (((Npos (XI (XI (XI
+    (XI (XI (XI (XO (XI XH))))))))), (Npos (XI (XO (XI (XO (XO
+    XH))))))) :: (((Npos (XI (XO (XI (XO (XO (XO (XI (XI XH))))))))), (Npos
+    (XI (XO (XI (XO (XO XH))))))) :: (((Npos (XO (XI (XO (XO (XI (XO (XI (XI
+    XH))))))))), (Npos (XI (XO (XI (XO (XO XH))))))) :: (((Npos (XO (XI (XI
+    (XI (XI (XO (XI (XI XH))))))))), (Npos (XI (XO (XI (XO (XO
+    XH))))))) :: (((Npos (XO (XI (XI (XO (XO (XI (XI (XI XH))))))))), (Npos
+    (XI (XO (XI (XO (XO XH))))))) :: (((Npos (XI (XI (XO (XI (XO (XI (XI (XI
+    XH))))))))), (Npos (XI (XO (XI (XO (XO XH))))))) :: (((Npos (XI (XO (XO
+    (XO (XI (XI (XI (XI XH))))))))), (Npos (XI (XO (XI (XO (XO
+    XH))))))) :: (((Npos (XI (XI (XI (XI (XI (XI (XI (XI XH))))))))), (Npos
+    (XI (XO (XI (XO (XO XH))))))) :: (((Npos (XO (XI (XI (XI (XO (XO (XO (XO
+    (XO XH)))))))))), (Npos (XI (XO (XI (XO (XO XH))))))) :: (((Npos (XO (XO
+    (XI (XO (XI (XO (XO (XO (XO XH)))))))))), (Npos (XI (XO (XI (XO (XO
+    XH))))))) :: (((Npos (XO (XI (XI (XI (XI (XO (XO (XO (XO XH)))))))))),
+    (Npos (XI (XO (XI (XO (XO XH))))))) :: (((Npos (XI (XO (XI (XO (XO (XI
+    (XO (XO (XO XH)))))))))), (Npos (XI (XO (XI (XO (XO XH))))))) :: (((Npos
+    (XI (XO (XI (XI (XO (XI (XO (XO (XO XH)))))))))), (Npos (XI (XO (XI (XO
+    (XO XH))))))) :: (((Npos (XI (XI (XO (XO (XI (XI (XO (XO (XO
+    XH)))))))))), (Npos (XI (XO (XI (XO (XO XH))))))) :: (((Npos (XI (XO (XI
+    (XI (XI (XI (XO (XO (XO XH)))))))))), (Npos (XI (XO (XI (XO (XO
+    XH))))))) :: (((Npos (XO (XO (XI (XO (XO (XO (XI (XO (XO XH)))))))))),
+    (Npos (XI (XO (XO (XI (XO XH))))))) :: (((Npos (XO (XO (XI (XI (XO (XO
+    (XI (XO (XO XH)))))))))), (Npos (XI (XO (XO (XI (XO XH))))))) :: (((Npos
+    (XO (XI (XO (XO (XI (XO (XI (XO (XO XH)))))))))), (Npos (XI (XO (XO (XI
+    (XO XH))))))) :: (((Npos (XO (XO (XO (XI (XI (XO (XI (XO (XO
+    XH)))))))))), (Npos (XI (XO (XO (XI (XO XH))))))) :: (((Npos (XO (XI (XI
+    (XI (XI (XO (XI (XO (XO XH)))))))))), (Npos (XI (XO (XO (XI (XO
+    XH))))))) :: (((Npos (XI (XI (XO (XI (XO (XI (XI (XO (XO XH)))))))))),
+    (Npos (XI (XO (XO (XI (XO XH))))))) :: (((Npos (XI (XO (XO (XI (XI (XI
+    (XI (XO (XO XH)))))))))), (Npos (XI (XO (XO (XI (XO XH))))))) :: (((Npos
+    (XO (XO (XO (XO (XO (XO (XO (XI (XO XH)))))))))), (Npos (XI (XO (XO (XI
+    (XO XH))))))) :: (((Npos (XO (XO (XO (XI (XO (XO (XO (XI (XO
+    XH)))))))))), (Npos (XI (XO (XO (XI (XO XH))))))) :: (((Npos (XO (XI (XO
+    (XI (XI (XO (XO (XI (XO XH)))))))))), (Npos (XI (XO (XO (XI (XO
+    XH))))))) :: (((Npos (XI (XI (XO (XO (XO (XI (XO (XI (XO XH)))))))))),
+    (Npos (XI (XO (XO (XI (XO XH))))))) :: (((Npos (XI (XO (XI (XI (XO (XI
+    (XO (XI (XO XH)))))))))), (Npos (XI (XO (XO (XI (XO XH))))))) :: (((Npos
+    (XI (XO (XI (XO (XI (XI (XO (XI (XO XH)))))))))), (Npos (XI (XO (XO (XI
+    (XO XH))))))) :: (((Npos (XI (XI (XI (XI (XI (XI (XO (XI (XO
+    XH)))))))))), (Npos (XI (XO (XO (XI (XO XH))))))) :: (((Npos (XO (XI (XI
+    (XI (XO (XO (XI (XI (XO XH)))))))))), (Npos (XI (XI (XO (XI (XO
+    XH))))))) :: (((Npos (XO (XO (XO (XI (XI (XO (XI (XI (XO XH)))))))))),
+    (Npos (XI (XI (XO (XI (XO XH))))))) :: (((Npos (XO (XO (XO (XO (XO (XI
+    (XI (XI (XO XH)))))))))), (Npos (XI (XI (XO (XI (XO XH))))))) :: (((Npos
+    (XI (XI (XO (XI (XO (XI (XI (XI (XO XH)))))))))), (Npos (XI (XI (XO (XI
+    (XO XH))))))) :: (((Npos (XI (XI (XI (XO (XI (XI (XI (XI (XO
+    XH)))))))))), (Npos (XI (XI (XO (XI (XO XH))))))) :: (((Npos (XO (XI (XO
+    (XI (XO (XO (XO (XO (XI XH)))))))))), (Npos (XI (XI (XI (XI (XO
+    XH))))))) :: (((Npos (XO (XO (XO (XI (XI (XO (XO (XO (XI XH)))))))))),
+    (Npos (XI (XI (XI (XI (XO XH))))))) :: (((Npos (XO (XI (XO (XO (XO (XI
+    (XO (XO (XI XH)))))))))), (Npos (XI (XI (XI (XI (XO XH))))))) :: (((Npos
+    (XI (XI (XO (XI (XO (XI (XO (XO (XI XH)))))))))), (Npos (XI (XI (XI (XI
+    (XO XH))))))) :: (((Npos (XI (XO (XI (XO (XI (XI (XO (XO (XI
+    XH)))))))))), (Npos (XI (XI (XI (XI (XO XH))))))) :: (((Npos (XI (XI (XO
+    (XO (XO (XO (XI (XO (XI XH)))))))))), (Npos (XI (XI (XI (XI (XO
+    XH))))))) :: (((Npos (XI (XO (XI (XI (XO (XO (XI (XO (XI XH)))))))))),
+    (Npos (XI (XI (XI (XI (XO XH))))))) :: (((Npos (XO (XO (XI (XI (XI (XO
+    (XI (XO (XI XH)))))))))), (Npos (XI (XI (XI (XI (XO XH))))))) :: (((Npos
+    (XO (XI (XI (XO (XO (XI (XI (XO (XI XH)))))))))), (Npos (XI (XI (XI (XI
+    (XO XH))))))) :: (((Npos (XI (XI (XO (XI (XI (XI (XI (XO (XI
+    XH)))))))))), (Npos (XI (XI (XI (XI (XO XH))))))) :: (((Npos (XI (XI (XI
+    (XO (XO (XO (XO (XI (XI XH)))))))))), (Npos (XI (XI (XI (XI (XO
+    XH))))))) :: (((Npos (XI (XO (XO (XO (XI (XO (XO (XI (XI XH)))))))))),
+    (Npos (XI (XI (XI (XI (XO XH))))))) :: (((Npos (XO (XI (XI (XI (XI (XO
+    (XO (XI (XI XH)))))))))), (Npos (XI (XO (XI (XO (XI XH))))))) :: (((Npos
+    (XO (XI (XO (XI (XO (XI (XO (XI (XI XH)))))))))), (Npos (XI (XO (XI (XO
+    (XI XH))))))) :: (((Npos (XO (XI (XI (XO (XI (XI (XO (XI (XI
+    XH)))))))))), (Npos (XI (XO (XI (XO (XI XH))))))) :: (((Npos (XI (XI (XO
+    (XO (XO (XO (XI (XI (XI XH)))))))))), (Npos (XI (XO (XI (XO (XI
+    XH))))))) :: (((Npos (XI (XO (XO (XO (XI (XO (XI (XI (XI XH)))))))))),
+    (Npos (XI (XO (XI (XO (XI XH))))))) :: (((Npos (XI (XO (XI (XI (XI (XO
+    (XI (XI (XI XH)))))))))), (Npos (XI (XO (XI (XO (XI XH))))))) :: (((Npos
+    (XO (XI (XO (XI (XO (XI (XI (XI (XI XH)))))))))), (Npos (XI (XO (XI (XO
+    (XI XH))))))) :: (((Npos (XO (XO (XI (XI (XI (XI (XI (XI (XI
+    XH)))))))))), (Npos (XI (XO (XI (XO (XI XH))))))) :: (((Npos (XO (XO (XO
+    (XI (XO (XO (XO (XO (XO (XO XH))))))))))), (Npos (XI (XO (XI (XO (XI
+    XH))))))) :: (((Npos (XO (XI (XO (XI (XI (XO (XO (XO (XO (XO
+    XH))))))))))), (Npos (XI (XO (XI (XO (XI XH))))))) :: (((Npos (XO (XI (XO
+    (XO (XI (XI (XO (XO (XO (XO XH))))))))))), (Npos (XI (XO (XI (XO (XI
+    XH))))))) :: (((Npos (XI (XO (XI (XI (XI (XI (XO (XO (XO (XO
+    XH))))))))))), (Npos (XI (XO (XI (XO (XI XH))))))) :: (((Npos (XI (XI (XO
+    (XI (XO (XO (XI (XO (XO (XO XH))))))))))), (Npos (XI (XO (XI (XO (XI
+    XH))))))) :: (((Npos (XI (XI (XI (XO (XI (XO (XI (XO (XO (XO
+    XH))))))))))), (Npos (XI (XO (XI (XO (XI XH))))))) :: (((Npos (XO (XO (XO
+    (XO (XI (XI (XI (XO (XO (XO XH))))))))))), (Npos (XI (XO (XI (XO (XI
+    XH))))))) :: (((Npos (XO (XO (XO (XO (XO (XO (XO (XI (XO (XO
+    XH))))))))))), (Npos (XI (XO (XI (XO (XI XH))))))) :: (((Npos (XI (XO (XO
+    (XO (XI (XO (XO (XI (XO (XO XH))))))))))), (Npos (XI (XI (XO (XI (XI
+    XH))))))) :: (((Npos (XI (XI (XI (XI (XI (XO (XO (XI (XO (XO
+    XH))))))))))), (Npos (XI (XI (XO (XI (XI XH))))))) :: (((Npos (XI (XO (XI
+    (XO (XI (XI (XO (XI (XO (XO XH))))))))))), (Npos (XI (XI (XO (XI (XI
+    XH))))))) :: (((Npos (XO (XO (XI (XO (XO (XO (XI (XI (XO (XO
+    XH))))))))))), (Npos (XI (XI (XO (XI (XI XH))))))) :: (((Npos (XO (XO (XI
+    (XO (XI (XO (XI (XI (XO (XO XH))))))))))), (Npos (XI (XI (XO (XI (XI
+    XH))))))) :: (((Npos (XI (XI (XI (XO (XO (XI (XI (XI (XO (XO
+    XH))))))))))), (Npos (XI (XI (XO (XI (XI XH))))))) :: (((Npos (XI (XO (XI
+    (XO (XI (XI (XI (XI (XO (XO XH))))))))))), (Npos (XI (XI (XO (XI (XI
+    XH))))))) :: (((Npos (XI (XO (XI (XO (XO (XO (XO (XO (XI (XO
+    XH))))))))))), (Npos (XI (XI (XO (XI (XI XH))))))) :: (((Npos (XO (XI (XO
+    (XI (XI (XO (XO (XO (XI (XO XH))))))))))), (Npos (XI (XI (XO (XI (XI
+    XH))))))) :: (((Npos (XI (XI (XO (XO (XO (XO (XI (XO (XI (XO
+    XH))))))))))), (Npos (XI (XI (XO (XI (XI XH))))))) :: (((Npos (XI (XO (XO
+    (XO (XI (XO (XI (XO (XI (XO XH))))))))))), (Npos (XI (XI (XO (XI (XI
+    XH))))))) :: (((Npos (XI (XO (XI (XI (XO (XI (XI (XO (XI (XO
+    XH))))))))))), (Npos (XI (XI (XO (XI (XI XH))))))) :: (((Npos (XO (XO (XI
+    (XI (XI (XI (XI (XO (XI (XO XH))))))))))), (Npos (XI (XI (XO (XI (XI
+    XH))))))) :: (((Npos (XO (XO (XI (XI (XO (XO (XO (XI (XI (XO
+    XH))))))))))), (Npos (XI (XI (XO (XI (XI XH))))))) :: (((Npos (XO (XO (XI
+    (XI (XI (XO (XO (XI (XI (XO XH))))))))))), (Npos (XI (XI (XO (XI (XI
+    XH))))))) :: (((Npos (XI (XO (XI (XO (XI (XI (XO (XI (XI (XO
+    XH))))))))))), (Npos (XI (XO (XI (XI (XI XH))))))) :: (((Npos (XI (XO (XI
+    (XO (XO (XO (XI (XI (XI (XO XH))))))))))), (Npos (XI (XO (XI (XI (XI
+    XH))))))) :: (((Npos (XO (XI (XI (XI (XI (XO (XI (XI (XI (XO
+    XH))))))))))), (Npos (XI (XO (XI (XI (XI XH))))))) :: (((Npos (XO (XI (XO
+    (XO (XI (XI (XI (XI (XI (XO XH))))))))))), (Npos (XI (XO (XI (XI (XI
+    XH))))))) :: (((Npos (XI (XI (XO (XO (XO (XO (XO (XO (XO (XI
+    XH))))))))))), (Npos (XI (XI (XO (XO (XO (XO XH)))))))) :: (((Npos (XI
+    (XO (XO (XI (XI (XO (XO (XO (XO (XI XH))))))))))), (Npos (XI (XI (XO (XO
+    (XO (XO XH)))))))) :: (((Npos (XI (XI (XO (XI (XO (XI (XO (XO (XO (XI
+    XH))))))))))), (Npos (XI (XI (XO (XO (XO (XO XH)))))))) :: (((Npos (XO
+    (XO (XO (XO (XO (XO (XI (XO (XO (XI XH))))))))))), (Npos (XI (XI (XO (XO
+    (XO (XO XH)))))))) :: (((Npos (XO (XO (XO (XO (XI (XO (XI (XO (XO (XI
+    XH))))))))))), (Npos (XI (XI (XO (XO (XO (XO XH)))))))) :: (((Npos (XI
+    (XO (XO (XO (XI (XI (XI (XO (XO (XI XH))))))))))), (Npos (XI (XI (XO (XO
+    (XO (XO XH)))))))) :: (((Npos (XI (XO (XO (XI (XO (XO (XO (XI (XO (XI
+    XH))))))))))), (Npos (XI (XI (XO (XO (XO (XO XH)))))))) :: (((Npos (XO
+    (XI (XO (XO (XO (XI (XO (XI (XO (XI XH))))))))))), (Npos (XI (XI (XO (XO
+    (XO (XO XH)))))))) :: (((Npos (XO (XO (XI (XO (XI (XI (XO (XI (XO (XI
+    XH))))))))))), (Npos (XI (XI (XO (XO (XO (XO XH)))))))) :: (((Npos (XO
+    (XI (XI (XO (XO (XO (XI (XI (XO (XI XH))))))))))), (Npos (XI (XI (XO (XO
+    (XO (XO XH)))))))) :: (((Npos (XI (XI (XI (XI (XI (XO (XI (XI (XO (XI
+    XH))))))))))), (Npos (XI (XI (XO (XO (XO (XO XH)))))))) :: (((Npos (XI
+    (XO (XO (XO (XI (XI (XI (XI (XO (XI XH))))))))))), (Npos (XI (XI (XO (XO
+    (XO (XO XH)))))))) :: (((Npos (XO (XO (XO (XI (XO (XO (XO (XO (XI (XI
+    XH))))))))))), (Npos (XI (XI (XO (XO (XO (XO XH)))))))) :: (((Npos (XO
+    (XO (XO (XO (XO (XI (XO (XO (XI (XI XH))))))))))), (Npos (XI (XI (XO (XO
+    (XO (XO XH)))))))) :: (((Npos (XO (XO (XI (XO (XI (XI (XO (XO (XI (XI
+    XH))))))))))), (Npos (XI (XI (XO (XO (XO (XO XH)))))))) :: (((Npos (XI
+    (XI (XI (XO (XO (XO (XI (XO (XI (XI XH))))))))))), (Npos (XI (XI (XI (XO
+    (XO (XO XH)))))))) :: (((Npos (XI (XI (XI (XI (XI (XO (XI (XO (XI (XI
+    XH))))))))))), (Npos (XI (XI (XI (XO (XO (XO XH)))))))) :: (((Npos (XO
+    (XI (XO (XO (XI (XI (XI (XO (XI (XI XH))))))))))), (Npos (XI (XI (XI (XO
+    (XO (XO XH)))))))) :: (((Npos (XO (XI (XI (XO (XO (XO (XO (XI (XI (XI
+    XH))))))))))), (Npos (XI (XI (XI (XO (XO (XO XH)))))))) :: (((Npos (XO
+    (XI (XO (XO (XO (XI (XO (XI (XI (XI XH))))))))))), (Npos (XI (XI (XI (XO
+    (XO (XO XH)))))))) :: (((Npos (XI (XI (XO (XI (XI (XI (XO (XI (XI (XI
+    XH))))))))))), (Npos (XI (XI (XI (XO (XO (XO XH)))))))) :: (((Npos (XI
+    (XO (XI (XO (XI (XO (XI (XI (XI (XI XH))))))))))), (Npos (XI (XI (XI (XO
+    (XO (XO XH)))))))) :: (((Npos (XO (XO (XO (XI (XI (XI (XI (XI (XI (XI
+    XH))))))))))), (Npos (XI (XI (XI (XO (XO (XO XH)))))))) :: (((Npos (XO
+    (XI (XI (XO (XI (XO (XO (XO (XO (XO (XO XH)))))))))))), (Npos (XI (XI (XI
+    (XO (XO (XO XH)))))))) :: (((Npos (XI (XI (XI (XO (XI (XI (XO (XO (XO (XO
+    (XO XH)))))))))))), (Npos (XI (XO (XO (XI (XO (XO XH)))))))) :: (((Npos
+    (XI (XO (XI (XI (XO (XO (XI (XO (XO (XO (XO XH)))))))))))), (Npos (XI (XO
+    (XO (XI (XO (XO XH)))))))) :: (((Npos (XO (XO (XO (XI (XO (XI (XI (XO (XO
+    (XO (XO XH)))))))))))), (Npos (XI (XO (XO (XI (XO (XO
+    XH)))))))) :: (((Npos (XI (XI (XO (XO (XI (XO (XO (XI (XO (XO (XO
+    XH)))))))))))), (Npos (XI (XI (XI (XI (XO (XO XH)))))))) :: (((Npos (XI
+    (XO (XO (XI (XO (XI (XO (XI (XO (XO (XO XH)))))))))))), (Npos (XI (XI (XI
+    (XI (XO (XO XH)))))))) :: (((Npos (XI (XI (XI (XO (XO (XO (XI (XI (XO (XO
+    (XO XH)))))))))))), (Npos (XI (XI (XI (XI (XO (XO XH)))))))) :: (((Npos
+    (XO (XI (XI (XO (XO (XI (XI (XI (XO (XO (XO XH)))))))))))), (Npos (XI (XI
+    (XI (XI (XO (XO XH)))))))) :: (((Npos (XI (XI (XO (XI (XO (XO (XO (XO (XI
+    (XO (XO XH)))))))))))), (Npos (XI (XI (XI (XI (XO (XO
+    XH)))))))) :: (((Npos (XI (XI (XO (XO (XO (XI (XO (XO (XI (XO (XO
+    XH)))))))))))), (Npos (XI (XI (XI (XI (XO (XO XH)))))))) :: (((Npos (XI
+    (XI (XI (XI (XI (XI (XO (XO (XI (XO (XO XH)))))))))))), (Npos (XI (XI (XI
+    (XI (XO (XO XH)))))))) :: (((Npos (XO (XO (XO (XI (XI (XO (XI (XO (XI (XO
+    (XO XH)))))))))))), (Npos (XI (XI (XI (XI (XO (XO XH)))))))) :: (((Npos
+    (XO (XO (XO (XO (XI (XI (XI (XO (XI (XO (XO XH)))))))))))), (Npos (XI (XI
+    (XI (XI (XO (XO XH)))))))) :: (((Npos (XI (XI (XI (XI (XO (XO (XO (XI (XI
+    (XO (XO XH)))))))))))), (Npos (XI (XI (XI (XI (XO (XO
+    XH)))))))) :: (((Npos (XI (XO (XO (XI (XO (XI (XO (XI (XI (XO (XO
+    XH)))))))))))), (Npos (XI (XI (XI (XI (XO (XO XH)))))))) :: (((Npos (XO
+    (XI (XI (XO (XO (XO (XI (XI (XI (XO (XO XH)))))))))))), (Npos (XI (XI (XI
+    (XI (XO (XO XH)))))))) :: (((Npos (XO (XO (XO (XO (XO (XI (XI (XI (XI (XO
+    (XO XH)))))))))))), (Npos (XI (XI (XI (XI (XO (XO XH)))))))) :: (((Npos
+    (XI (XO (XI (XO (XO (XO (XO (XO (XO (XI (XO XH)))))))))))), (Npos (XI (XI
+    (XO (XO (XI (XO XH)))))))) :: (((Npos (XI (XO (XO (XI (XO (XI (XO (XO (XO
+    (XI (XO XH)))))))))))), (Npos (XI (XI (XO (XO (XI (XO
+    XH)))))))) :: (((Npos (XO (XO (XO (XO (XI (XO (XI (XO (XO (XI (XO
+    XH)))))))))))), (Npos (XI (XI (XO (XO (XI (XO XH)))))))) :: (((Npos (XO
+    (XO (XI (XI (XO (XI (XI (XO (XO (XI (XO XH)))))))))))), (Npos (XI (XI (XO
+    (XO (XI (XO XH)))))))) :: (((Npos (XI (XO (XI (XI (XO (XO (XO (XI (XO (XI
+    (XO XH)))))))))))), (Npos (XI (XI (XO (XO (XI (XO XH)))))))) :: (((Npos
+    (XI (XO (XO (XO (XI (XI (XO (XI (XO (XI (XO XH)))))))))))), (Npos (XI (XI
+    (XO (XO (XI (XO XH)))))))) :: (((Npos (XO (XO (XI (XO (XI (XO (XI (XI (XO
+    (XI (XO XH)))))))))))), (Npos (XI (XI (XO (XO (XI (XO
+    XH)))))))) :: (((Npos (XO (XI (XO (XO (XI (XI (XI (XI (XO (XI (XO
+    XH)))))))))))), (Npos (XI (XI (XO (XO (XI (XO XH)))))))) :: (((Npos (XI
+    (XI (XI (XI (XO (XO (XO (XO (XI (XI (XO XH)))))))))))), (Npos (XI (XO (XO
+    (XI (XI (XO XH)))))))) :: (((Npos (XI (XI (XO (XI (XI (XI (XO (XO (XI (XI
+    (XO XH)))))))))))), (Npos (XI (XO (XO (XI (XI (XO XH)))))))) :: (((Npos
+    (XO (XI (XO (XI (XI (XO (XI (XO (XI (XI (XO XH)))))))))))), (Npos (XI (XO
+    (XO (XI (XI (XO XH)))))))) :: (((Npos (XO (XI (XO (XI (XI (XI (XI (XO (XI
+    (XI (XO XH)))))))))))), (Npos (XI (XO (XO (XI (XI (XO
+    XH)))))))) :: (((Npos (XI (XI (XO (XO (XO (XI (XO (XI (XI (XI (XO
+    XH)))))))))))), (Npos (XI (XO (XO (XI (XI (XO XH)))))))) :: (((Npos (XI
+    (XI (XI (XO (XO (XO (XI (XI (XI (XI (XO XH)))))))))))), (Npos (XI (XO (XO
+    (XI (XI (XO XH)))))))) :: (((Npos (XO (XO (XO (XO (XI (XI (XI (XI (XI (XI
+    (XO XH)))))))))))), (Npos (XI (XO (XO (XI (XI (XO XH)))))))) :: (((Npos
+    (XI (XO (XI (XI (XI (XO (XO (XO (XO (XO (XI XH)))))))))))), (Npos (XI (XO
+    (XO (XI (XI (XO XH)))))))) :: (((Npos (XI (XI (XI (XI (XO (XO (XI (XO (XO
+    (XO (XI XH)))))))))))), (Npos (XI (XO (XO (XI (XI (XO
+    XH)))))))) :: (((Npos (XO (XI (XO (XO (XI (XI (XI (XO (XO (XO (XI
+    XH)))))))))))), (Npos (XI (XO (XO (XI (XI (XO XH)))))))) :: (((Npos (XO
+    (XO (XO (XI (XI (XO (XO (XI (XO (XO (XI XH)))))))))))), (Npos (XI (XO (XO
+    (XI (XI (XO XH)))))))) :: (((Npos (XI (XO (XO (XO (XO (XO (XI (XI (XO (XO
+    (XI XH)))))))))))), (Npos (XI (XO (XO (XO (XO (XI XH)))))))) :: (((Npos
+    (XI (XI (XO (XO (XO (XI (XI (XI (XO (XO (XI XH)))))))))))), (Npos (XI (XO
+    (XO (XO (XO (XI XH)))))))) :: (((Npos (XO (XO (XO (XO (XI (XO (XO (XO (XI
+    (XO (XI XH)))))))))))), (Npos (XI (XO (XO (XO (XO (XI
+    XH)))))))) :: (((Npos (XI (XI (XO (XI (XI (XI (XO (XO (XI (XO (XI
+    XH)))))))))))), (Npos (XI (XO (XO (XO (XO (XI XH)))))))) :: (((Npos (XI
+    (XI (XI (XI (XI (XO (XI (XO (XI (XO (XI XH)))))))))))), (Npos (XI (XO (XO
+    (XO (XO (XI XH)))))))) :: (((Npos (XO (XI (XO (XI (XO (XO (XO (XI (XI (XO
+    (XI XH)))))))))))), (Npos (XI (XO (XO (XO (XO (XI XH)))))))) :: (((Npos
+    (XO (XI (XI (XI (XO (XI (XO (XI (XI (XO (XI XH)))))))))))), (Npos (XI (XO
+    (XO (XO (XO (XI XH)))))))) :: (((Npos (XI (XI (XO (XO (XI (XO (XI (XI (XI
+    (XO (XI XH)))))))))))), (Npos (XI (XO (XO (XO (XO (XI
+    XH)))))))) :: (((Npos (XI (XI (XO (XI (XI (XI (XI (XI (XI (XO (XI
+    XH)))))))))))), (Npos (XI (XO (XO (XO (XO (XI XH)))))))) :: (((Npos (XO
+    (XO (XO (XO (XO (XI (XO (XO (XO (XI (XI XH)))))))))))), (Npos (XI (XO (XO
+    (XO (XO (XI XH)))))))) :: (((Npos (XO (XI (XO (XI (XO (XO (XI (XO (XO (XI
+    (XI XH)))))))))))), (Npos (XI (XO (XO (XO (XO (XI XH)))))))) :: (((Npos
+    (XI (XO (XO (XO (XI (XI (XI (XO (XO (XI (XI XH)))))))))))), (Npos (XI (XO
+    (XO (XO (XO (XI XH)))))))) :: (((Npos (XI (XI (XI (XO (XO (XI (XO (XI (XO
+    (XI (XI XH)))))))))))), (Npos (XI (XO (XO (XO (XO (XI
+    XH)))))))) :: (((Npos (XO (XO (XO (XO (XI (XO (XI (XI (XO (XI (XI
+    XH)))))))))))), (Npos (XI (XO (XO (XO (XO (XI XH)))))))) :: (((Npos (XO
+    (XO (XO (XO (XO (XO (XO (XO (XI (XI (XI XH)))))))))))), (Npos (XI (XO (XO
+    (XO (XO (XI XH)))))))) :: (((Npos (XI (XI (XO (XI (XO (XI (XO (XO (XI (XI
+    (XI XH)))))))))))), (Npos (XI (XO (XI (XO (XO (XI XH)))))))) :: (((Npos
+    (XO (XO (XI (XO (XI (XO (XI (XO (XI (XI (XI XH)))))))))))), (Npos (XI (XO
+    (XI (XO (XO (XI XH)))))))) :: (((Npos (XO (XI (XO (XO (XO (XO (XO (XI (XI
+    (XI (XI XH)))))))))))), (Npos (XI (XO (XI (XO (XO (XI
+    XH)))))))) :: (((Npos (XI (XI (XI (XI (XO (XI (XO (XI (XI (XI (XI
+    XH)))))))))))), (Npos (XI (XO (XI (XO (XO (XI XH)))))))) :: (((Npos (XI
+    (XO (XI (XO (XO (XI (XI (XI (XI (XI (XI XH)))))))))))), (Npos (XI (XO (XI
+    (XO (XO (XI XH)))))))) :: (((Npos (XO (XO (XO (XO (XI (XO (XO (XO (XO (XO
+    (XO (XO XH))))))))))))), (Npos (XI (XO (XI (XO (XO (XI
+    XH)))))))) :: (((Npos (XI (XO (XI (XO (XO (XO (XI (XO (XO (XO (XO (XO
+    XH))))))))))))), (Npos (XI (XI (XI (XO (XO (XI XH)))))))) :: (((Npos (XI
+    (XI (XI (XI (XO (XI (XI (XO (XO (XO (XO (XO XH))))))))))))), (Npos (XI
+    (XI (XI (XO (XO (XI XH)))))))) :: (((Npos (XO (XO (XI (XI (XI (XO (XO (XI
+    (XO (XO (XO (XO XH))))))))))))), (Npos (XI (XI (XI (XO (XO (XI
+    XH)))))))) :: (((Npos (XO (XI (XI (XI (XI (XO (XI (XI (XO (XO (XO (XO
+    XH))))))))))))), (Npos (XI (XI (XI (XO (XO (XI XH)))))))) :: (((Npos (XI
+    (XO (XI (XI (XO (XO (XO (XO (XI (XO (XO (XO XH))))))))))))), (Npos (XI
+    (XI (XO (XI (XO (XI XH)))))))) :: (((Npos (XO (XI (XO (XO (XO (XO (XI (XO
+    (XI (XO (XO (XO XH))))))))))))), (Npos (XI (XI (XO (XI (XO (XI
+    XH)))))))) :: (((Npos (XO (XO (XI (XO (XI (XI (XI (XO (XI (XO (XO (XO
+    XH))))))))))))), (Npos (XI (XI (XO (XI (XO (XI XH)))))))) :: (((Npos (XI
+    (XO (XO (XO (XO (XI (XO (XI (XI (XO (XO (XO XH))))))))))))), (Npos (XI
+    (XI (XO (XI (XO (XI XH)))))))) :: (((Npos (XI (XI (XI (XO (XI (XO (XI (XI
+    (XI (XO (XO (XO XH))))))))))))), (Npos (XI (XI (XO (XI (XO (XI
+    XH)))))))) :: (((Npos (XO (XI (XO (XO (XI (XO (XO (XO (XO (XI (XO (XO
+    XH))))))))))))), (Npos (XI (XI (XO (XI (XO (XI XH)))))))) :: (((Npos (XI
+    (XO (XO (XI (XO (XO (XI (XO (XO (XI (XO (XO XH))))))))))))), (Npos (XI
+    (XO (XI (XI (XO (XI XH)))))))) :: (((Npos (XI (XI (XO (XI (XI (XI (XI (XO
+    (XO (XI (XO (XO XH))))))))))))), (Npos (XI (XO (XI (XI (XO (XI
+    XH)))))))) :: (((Npos (XO (XO (XI (XI (XO (XI (XO (XI (XO (XI (XO (XO
+    XH))))))))))))), (Npos (XI (XO (XI (XI (XO (XI XH)))))))) :: (((Npos (XO
+    (XI (XI (XO (XO (XI (XI (XI (XO (XI (XO (XO XH))))))))))))), (Npos (XI
+    (XO (XI (XI (XO (XI XH)))))))) :: (((Npos (XI (XO (XI (XO (XO (XI (XO (XO
+    (XI (XI (XO (XO XH))))))))))))), (Npos (XI (XO (XO (XO (XI (XI
+    XH)))))))) :: (((Npos (XO (XI (XO (XI (XI (XO (XI (XO (XI (XI (XO (XO
+    XH))))))))))))), (Npos (XI (XO (XO (XO (XI (XI XH)))))))) :: (((Npos (XO
+    (XO (XO (XO (XI (XO (XO (XI (XI (XI (XO (XO XH))))))))))))), (Npos (XI
+    (XO (XO (XO (XI (XI XH)))))))) :: (((Npos (XI (XI (XI (XO (XO (XO (XI (XI
+    (XI (XI (XO (XO XH))))))))))))), (Npos (XI (XO (XO (XO (XI (XI
+    XH)))))))) :: (((Npos (XO (XO (XI (XI (XI (XI (XI (XI (XI (XI (XO (XO
+    XH))))))))))))), (Npos (XI (XO (XO (XO (XI (XI XH)))))))) :: (((Npos (XO
+    (XO (XI (XO (XI (XI (XO (XO (XO (XO (XI (XO XH))))))))))))), (Npos (XI
+    (XO (XO (XO (XI (XI XH)))))))) :: (((Npos (XI (XO (XO (XI (XO (XI (XI (XO
+    (XO (XO (XI (XO XH))))))))))))), (Npos (XI (XI (XI (XI (XI (XI
+    XH)))))))) :: (((Npos (XI (XI (XI (XI (XI (XO (XO (XI (XO (XO (XI (XO
+    XH))))))))))))), (Npos (XI (XI (XI (XI (XI (XI XH)))))))) :: (((Npos (XO
+    (XI (XI (XO (XI (XO (XI (XI (XO (XO (XI (XO XH))))))))))))), (Npos (XI
+    (XI (XI (XI (XI (XI XH)))))))) :: (((Npos (XI (XI (XI (XI (XO (XO (XO (XO
+    (XI (XO (XI (XO XH))))))))))))), (Npos (XI (XI (XI (XI (XI (XI
+    XH)))))))) :: (((Npos (XI (XO (XO (XI (XO (XO (XI (XO (XI (XO (XI (XO
+    XH))))))))))))), (Npos (XI (XI (XI (XI (XI (XI XH)))))))) :: (((Npos (XO
+    (XI (XO (XO (XO (XO (XO (XI (XI (XO (XI (XO XH))))))))))))), (Npos (XI
+    (XI (XI (XI (XI (XI XH)))))))) :: (((Npos (XO (XI (XI (XI (XI (XI (XO (XI
+    (XI (XO (XI (XO XH))))))))))))), (Npos (XI (XI (XI (XI (XI (XI
+    XH)))))))) :: (((Npos (XI (XO (XI (XO (XO (XO (XO (XO (XO (XI (XI (XO
+    XH))))))))))))), (Npos (XI (XI (XI (XI (XI (XI XH)))))))) :: (((Npos (XO
+    (XI (XI (XI (XI (XI (XO (XO (XO (XI (XI (XO XH))))))))))))), (Npos (XI
+    (XI (XI (XI (XI (XI XH)))))))) :: (((Npos (XI (XI (XO (XO (XO (XO (XO (XI
+    (XO (XI (XI (XO XH))))))))))))), (Npos (XI (XI (XI (XI (XI (XI
+    XH)))))))) :: (((Npos (XI (XI (XI (XI (XI (XI (XO (XI (XO (XI (XI (XO
+    XH))))))))))))), (Npos (XI (XI (XI (XI (XI (XI XH)))))))) :: (((Npos (XO
+    (XO (XO (XI (XO (XO (XO (XO (XI (XI (XI (XO XH))))))))))))), (Npos (XI
+    (XI (XI (XI (XI (XI XH)))))))) :: (((Npos (XI (XI (XI (XO (XI (XO (XI (XO
+    (XI (XI (XI (XO XH))))))))))))), (Npos (XI (XI (XI (XI (XI (XI
+    XH)))))))) :: (((Npos (XI (XI (XI (XO (XI (XO (XO (XI (XI (XI (XI (XO
+    XH))))))))))))), (Npos (XI (XI (XI (XI (XI (XI XH)))))))) :: (((Npos (XO
+    (XI (XI (XO (XI (XO (XI (XI (XI (XI (XI (XO XH))))))))))))), (Npos (XI
+    (XI (XI (XI (XI (XI XH)))))))) :: (((Npos (XI (XO (XO (XI (XI (XO (XO (XO
+    (XO (XO (XO (XI XH))))))))))))), (Npos (XI (XI (XI (XI (XI (XI
+    XH)))))))) :: (((Npos (XI (XO (XO (XI (XI (XO (XI (XO (XO (XO (XO (XI
+    XH))))))))))))), (Npos (XI (XI (XI (XI (XI (XI XH)))))))) :: (((Npos (XO
+    (XO (XO (XI (XI (XO (XO (XI (XO (XO (XO (XI XH))))))))))))), (Npos (XI
+    (XI (XI (XI (XI (XI XH)))))))) :: (((Npos (XI (XI (XO (XI (XI (XO (XI (XI
+    (XO (XO (XO (XI XH))))))))))))), (Npos (XI (XI (XI (XI (XI (XI
+    XH)))))))) :: (((Npos (XI (XI (XO (XI (XI (XO (XO (XO (XI (XO (XO (XI
+    XH))))))))))))), (Npos (XI (XI (XI (XI (XI (XI XH)))))))) :: (((Npos (XO
+    (XI (XI (XO (XI (XI (XI (XO (XI (XO (XO (XI XH))))))))))))), (Npos (XI
+    (XI (XI (XI (XI (XI XH)))))))) :: (((Npos (XI (XO (XI (XI (XI (XI (XO (XI
+    (XI (XO (XO (XI XH))))))))))))), (Npos (XI (XI (XO (XO (XO (XO (XO
+    XH))))))))) :: (((Npos (XI (XI (XI (XI (XI (XI (XI (XI (XI (XO (XO (XI
+    XH))))))))))))), (Npos (XI (XI (XO (XO (XO (XO (XO XH))))))))) :: (((Npos
+    (XO (XI (XO (XI (XO (XO (XI (XO (XO (XI (XO (XI XH))))))))))))), (Npos
+    (XI (XI (XO (XO (XO (XO (XO XH))))))))) :: (((Npos (XI (XI (XI (XI (XO
+    (XO (XO (XI (XO (XI (XO (XI XH))))))))))))), (Npos (XI (XI (XO (XO (XO
+    (XO (XO XH))))))))) :: (((Npos (XO (XI (XI (XI (XI (XO (XI (XI (XO (XI
+    (XO (XI XH))))))))))))), (Npos (XI (XI (XO (XO (XO (XO (XO
+    XH))))))))) :: (((Npos (XO (XO (XI (XI (XO (XI (XO (XO (XI (XI (XO (XI
+    XH))))))))))))), (Npos (XI (XI (XO (XO (XO (XO (XO XH))))))))) :: (((Npos
+    (XI (XO (XO (XI (XI (XI (XI (XO (XI (XI (XO (XI XH))))))))))))), (Npos
+    (XI (XO (XO (XI (XO (XO (XO XH))))))))) :: (((Npos (XO (XO (XI (XO (XO
+    (XO (XI (XI (XI (XI (XO (XI XH))))))))))))), (Npos (XI (XO (XO (XI (XO
+    (XO (XO XH))))))))) :: (((Npos (XI (XO (XO (XO (XI (XO (XO (XO (XO (XO
+    (XI (XI XH))))))))))))), (Npos (XI (XO (XO (XI (XO (XO (XO
+    XH))))))))) :: (((Npos (XI (XO (XO (XO (XI (XI (XI (XO (XO (XO (XI (XI
+    XH))))))))))))), (Npos (XI (XO (XO (XI (XO (XO (XO XH))))))))) :: (((Npos
+    (XO (XO (XO (XO (XO (XO (XI (XI (XO (XO (XI (XI XH))))))))))))), (Npos
+    (XI (XO (XO (XI (XO (XO (XO XH))))))))) :: (((Npos (XI (XO (XI (XO (XI
+    (XO (XO (XO (XI (XO (XI (XI XH))))))))))))), (Npos (XI (XO (XO (XI (XO
+    (XO (XO XH))))))))) :: (((Npos (XO (XO (XO (XO (XO (XI (XI (XO (XI (XO
+    (XI (XI XH))))))))))))), (Npos (XI (XO (XO (XI (XO (XO (XO
+    XH))))))))) :: (((Npos (XO (XO (XI (XI (XO (XI (XO (XI (XI (XO (XI (XI
+    XH))))))))))))), (Npos (XI (XO (XO (XI (XO (XO (XO XH))))))))) :: (((Npos
+    (XI (XI (XO (XI (XI (XI (XI (XI (XI (XO (XI (XI XH))))))))))))), (Npos
+    (XI (XI (XO (XI (XO (XO (XO XH))))))))) :: (((Npos (XO (XI (XO (XI (XI
+    (XO (XI (XO (XO (XI (XI (XI XH))))))))))))), (Npos (XI (XI (XO (XI (XO
+    (XO (XO XH))))))))) :: (((Npos (XI (XI (XI (XI (XO (XI (XO (XI (XO (XI
+    (XI (XI XH))))))))))))), (Npos (XI (XO (XI (XO (XI (XO (XO
+    XH))))))))) :: (((Npos (XI (XI (XI (XI (XI (XI (XI (XI (XO (XI (XI (XI
+    XH))))))))))))), (Npos (XI (XO (XI (XO (XI (XO (XO XH))))))))) :: (((Npos
+    (XO (XI (XI (XI (XI (XO (XI (XO (XI (XI (XI (XI XH))))))))))))), (Npos
+    (XI (XO (XI (XO (XI (XO (XO XH))))))))) :: (((Npos (XI (XI (XI (XI (XO
+    (XI (XO (XI (XI (XI (XI (XI XH))))))))))))), (Npos (XI (XO (XI (XO (XI
+    (XO (XO XH))))))))) :: (((Npos (XO (XI (XO (XO (XO (XO (XO (XO (XO (XO
+    (XO (XO (XO XH)))))))))))))), (Npos (XI (XO (XI (XO (XI (XO (XO
+    XH))))))))) :: (((Npos (XO (XI (XO (XO (XO (XI (XI (XO (XO (XO (XO (XO
+    (XO XH)))))))))))))), (Npos (XI (XO (XI (XO (XI (XO (XO
+    XH))))))))) :: (((Npos (XI (XO (XO (XI (XI (XI (XO (XI (XO (XO (XO (XO
+    (XO XH)))))))))))))), (Npos (XI (XO (XI (XO (XI (XO (XO
+    XH))))))))) :: (((Npos (XO (XI (XO (XI (XI (XO (XO (XO (XI (XO (XO (XO
+    (XO XH)))))))))))))), (Npos (XI (XO (XI (XO (XI (XO (XO
+    XH))))))))) :: (((Npos (XI (XI (XI (XI (XO (XI (XI (XO (XI (XO (XO (XO
+    (XO XH)))))))))))))), (Npos (XI (XO (XI (XO (XI (XO (XO
+    XH))))))))) :: (((Npos (XO (XI (XI (XI (XO (XO (XI (XI (XI (XO (XO (XO
+    (XO XH)))))))))))))), (Npos (XI (XO (XI (XO (XI (XO (XO
+    XH))))))))) :: (((Npos (XO (XO (XO (XI (XO (XI (XO (XO (XO (XI (XO (XO
+    (XO XH)))))))))))))), (Npos (XI (XO (XI (XO (XI (XO (XO
+    XH))))))))) :: (((Npos (XI (XO (XI (XO (XO (XO (XO (XI (XO (XI (XO (XO
+    (XO XH)))))))))))))), (Npos (XI (XO (XI (XO (XI (XO (XO
+    XH))))))))) :: (((Npos (XO (XO (XO (XO (XO (XI (XI (XI (XO (XI (XO (XO
+    (XO XH)))))))))))))), (Npos (XI (XO (XI (XO (XI (XO (XO
+    XH))))))))) :: (((Npos (XI (XI (XO (XI (XI (XI (XO (XO (XI (XI (XO (XO
+    (XO XH)))))))))))))), (Npos (XI (XI (XI (XO (XI (XO (XO
+    XH))))))))) :: (((Npos (XI (XI (XI (XO (XI (XO (XO (XI (XI (XI (XO (XO
+    (XO XH)))))))))))))), (Npos (XI (XI (XI (XO (XI (XO (XO
+    XH))))))))) :: (((Npos (XO (XI (XI (XO (XI (XI (XI (XI (XI (XI (XO (XO
+    (XO XH)))))))))))))), (Npos (XI (XI (XI (XO (XI (XO (XO
+    XH))))))))) :: (((Npos (XI (XI (XI (XO (XI (XO (XI (XO (XO (XO (XI (XO
+    (XO XH)))))))))))))), (Npos (XI (XO (XI (XI (XI (XO (XO
+    XH))))))))) :: (((Npos (XO (XO (XO (XI (XI (XI (XO (XI (XO (XO (XI (XO
+    (XO XH)))))))))))))), (Npos (XI (XO (XI (XI (XI (XO (XO
+    XH))))))))) :: (((Npos (XI (XO (XO (XI (XI (XO (XO (XO (XI (XO (XI (XO
+    (XO XH)))))))))))))), (Npos (XI (XO (XI (XI (XI (XO (XO
+    XH))))))))) :: (((Npos (XI (XO (XO (XO (XO (XO (XO (XI (XI (XO (XI (XO
+    (XO XH)))))))))))))), (Npos (XI (XO (XI (XI (XI (XO (XO
+    XH))))))))) :: (((Npos (XO (XO (XI (XI (XO (XI (XI (XI (XI (XO (XI (XO
+    (XO XH)))))))))))))), (Npos (XI (XO (XI (XI (XI (XO (XO
+    XH))))))))) :: (((Npos (XI (XO (XI (XO (XI (XO (XI (XO (XO (XI (XI (XO
+    (XO XH)))))))))))))), (Npos (XI (XO (XI (XI (XI (XO (XO
+    XH))))))))) :: (((Npos (XO (XO (XI (XI (XI (XI (XO (XI (XO (XI (XI (XO
+    (XO XH)))))))))))))), (Npos (XI (XO (XI (XI (XI (XO (XO
+    XH))))))))) :: (((Npos (XI (XO (XO (XO (XO (XI (XO (XO (XI (XI (XI (XO
+    (XO XH)))))))))))))), (Npos (XI (XI (XO (XO (XO (XI (XO
+    XH))))))))) :: (((Npos (XO (XO (XO (XI (XO (XO (XO (XI (XI (XI (XI (XO
+    (XO XH)))))))))))))), (Npos (XI (XI (XO (XO (XO (XI (XO
+    XH))))))))) :: (((Npos (XI (XO (XO (XO (XO (XO (XO (XO (XO (XO (XO (XI
+    (XO XH)))))))))))))), (Npos (XI (XI (XO (XO (XO (XI (XO
+    XH))))))))) :: (((Npos (XI (XI (XI (XI (XO (XI (XI (XO (XO (XO (XO (XI
+    (XO XH)))))))))))))), (Npos (XI (XI (XO (XO (XO (XI (XO
+    XH))))))))) :: (((Npos (XO (XI (XO (XI (XI (XO (XI (XI (XO (XO (XO (XI
+    (XO XH)))))))))))))), (Npos (XI (XI (XO (XO (XO (XI (XO
+    XH))))))))) :: (((Npos (XI (XI (XI (XO (XO (XO (XI (XO (XI (XO (XO (XI
+    (XO XH)))))))))))))), (Npos (XI (XI (XO (XO (XO (XI (XO
+    XH))))))))) :: (((Npos (XO (XO (XI (XO (XI (XI (XO (XI (XI (XO (XO (XI
+    (XO XH)))))))))))))), (Npos (XI (XI (XO (XO (XO (XI (XO
+    XH))))))))) :: (((Npos (XI (XI (XO (XO (XO (XI (XO (XO (XO (XI (XO (XI
+    (XO XH)))))))))))))), (Npos (XI (XI (XI (XO (XO (XI (XO
+    XH))))))))) :: (((Npos (XI (XI (XO (XO (XI (XO (XO (XI (XO (XI (XO (XI
+    (XO XH)))))))))))))), (Npos (XI (XI (XI (XO (XO (XI (XO
+    XH))))))))) :: (((Npos (XI (XI (XI (XO (XO (XO (XO (XO (XI (XI (XO (XI
+    (XO XH)))))))))))))), (Npos (XI (XI (XI (XO (XO (XI (XO
+    XH))))))))) :: (((Npos (XO (XI (XO (XI (XI (XI (XI (XO (XI (XI (XO (XI
+    (XO XH)))))))))))))), (Npos (XI (XI (XI (XO (XO (XI (XO
+    XH))))))))) :: (((Npos (XI (XO (XI (XI (XO (XI (XI (XI (XI (XI (XO (XI
+    (XO XH)))))))))))))), (Npos (XI (XI (XI (XO (XO (XI (XO
+    XH))))))))) :: (((Npos (XO (XI (XI (XI (XI (XO (XI (XO (XO (XO (XI (XI
+    (XO XH)))))))))))))), (Npos (XI (XO (XI (XI (XO (XI (XO
+    XH))))))))) :: (((Npos (XI (XI (XO (XO (XI (XO (XI (XI (XO (XO (XI (XI
+    (XO XH)))))))))))))), (Npos (XI (XO (XI (XI (XO (XI (XO
+    XH))))))))) :: (((Npos (XO (XI (XI (XO (XO (XO (XI (XO (XI (XO (XI (XI
+    (XO XH)))))))))))))), (Npos (XI (XO (XI (XI (XO (XI (XO
+    XH))))))))) :: (((Npos (XI (XI (XI (XI (XI (XI (XO (XI (XI (XO (XI (XI
+    (XO XH)))))))))))))), (Npos (XI (XO (XI (XI (XO (XI (XO
+    XH))))))))) :: (((Npos (XI (XO (XI (XO (XI (XI (XO (XO (XO (XI (XI (XI
+    (XO XH)))))))))))))), (Npos (XI (XO (XI (XI (XO (XI (XO
+    XH))))))))) :: (((Npos (XO (XO (XI (XO (XI (XI (XO (XI (XO (XI (XI (XI
+    (XO XH)))))))))))))), (Npos (XI (XO (XI (XI (XO (XI (XO
+    XH))))))))) :: (((Npos (XI (XI (XI (XO (XI (XI (XO (XO (XI (XI (XI (XI
+    (XO XH)))))))))))))), (Npos (XI (XO (XI (XI (XO (XI (XO
+    XH))))))))) :: (((Npos (XO (XO (XO (XO (XI (XI (XO (XI (XI (XI (XI (XI
+    (XO XH)))))))))))))), (Npos (XI (XI (XO (XO (XI (XI (XO
+    XH))))))))) :: (((Npos (XI (XO (XI (XI (XO (XI (XO (XO (XO (XO (XO (XO
+    (XI XH)))))))))))))), (Npos (XI (XI (XO (XO (XI (XI (XO
+    XH))))))))) :: (((Npos (XO (XO (XI (XI (XO (XI (XO (XI (XO (XO (XO (XO
+    (XI XH)))))))))))))), (Npos (XI (XI (XO (XO (XI (XI (XO
+    XH))))))))) :: (((Npos (XI (XO (XO (XO (XI (XI (XO (XO (XI (XO (XO (XO
+    (XI XH)))))))))))))), (Npos (XI (XI (XO (XO (XI (XI (XO
+    XH))))))))) :: (((Npos (XO (XI (XI (XO (XI (XI (XO (XI (XI (XO (XO (XO
+    (XI XH)))))))))))))), (Npos (XI (XI (XO (XO (XI (XI (XO
+    XH))))))))) :: (((Npos (XI (XO (XO (XI (XI (XI (XO (XO (XO (XI (XO (XO
+    (XI XH)))))))))))))), (Npos (XI (XI (XO (XO (XI (XI (XO
+    XH))))))))) :: (((Npos (XO (XI (XO (XI (XO (XO (XI (XI (XO (XI (XO (XO
+    (XI XH)))))))))))))), (Npos (XI (XO (XI (XO (XI (XI (XO
+    XH))))))))) :: (((Npos (XI (XI (XI (XO (XI (XO (XI (XO (XI (XI (XO (XO
+    (XI XH)))))))))))))), (Npos (XI (XO (XI (XO (XI (XI (XO
+    XH))))))))) :: (((Npos (XO (XO (XI (XO (XO (XI (XI (XI (XI (XI (XO (XO
+    (XI XH)))))))))))))), (Npos (XI (XI (XI (XI (XI (XI (XO
+    XH))))))))) :: (((Npos (XI (XO (XO (XI (XO (XI (XI (XO (XO (XO (XI (XO
+    (XI XH)))))))))))))), (Npos (XI (XI (XI (XI (XI (XI (XO
+    XH))))))))) :: (((Npos (XO (XI (XI (XO (XI (XI (XI (XI (XO (XO (XI (XO
+    (XI XH)))))))))))))), (Npos (XI (XI (XI (XI (XI (XI (XO
+    XH))))))))) :: (((Npos (XI (XI (XI (XI (XI (XI (XI (XO (XI (XO (XI (XO
+    (XI XH)))))))))))))), (Npos (XI (XI (XI (XI (XI (XI (XO
+    XH))))))))) :: (((Npos (XI (XO (XO (XI (XO (XO (XO (XO (XO (XI (XI (XO
+    (XI XH)))))))))))))), (Npos (XI (XI (XI (XI (XI (XI (XO
+    XH))))))))) :: (((Npos (XO (XI (XI (XO (XI (XO (XO (XI (XO (XI (XI (XO
+    (XI XH)))))))))))))), (Npos (XI (XI (XI (XI (XI (XI (XO
+    XH))))))))) :: (((Npos (XI (XI (XO (XO (XO (XI (XO (XO (XI (XI (XI (XO
+    (XI XH)))))))))))))), (Npos (XI (XI (XI (XI (XI (XI (XO
+    XH))))))))) :: (((Npos (XO (XO (XO (XO (XO (XO (XI (XI (XI (XI (XI (XO
+    (XI XH)))))))))))))), (Npos (XI (XI (XI (XI (XI (XI (XO
+    XH))))))))) :: (((Npos (XI (XI (XI (XI (XO (XO (XI (XO (XO (XO (XO (XI
+    (XI XH)))))))))))))), (Npos (XI (XI (XI (XI (XI (XI (XO
+    XH))))))))) :: (((Npos (XO (XO (XO (XO (XO (XI (XI (XI (XO (XO (XO (XI
+    (XI XH)))))))))))))), (Npos (XI (XI (XI (XI (XI (XI (XO
+    XH))))))))) :: (((Npos (XI (XO (XO (XI (XI (XI (XI (XO (XI (XO (XO (XI
+    (XI XH)))))))))))))), (Npos (XI (XI (XI (XI (XI (XI (XO
+    XH))))))))) :: (((Npos (XO (XI (XI (XI (XO (XO (XO (XO (XO (XI (XO (XI
+    (XI XH)))))))))))))), (Npos (XI (XO (XO (XO (XO (XO (XI
+    XH))))))))) :: (((Npos (XI (XI (XO (XO (XO (XI (XO (XI (XO (XI (XO (XI
+    (XI XH)))))))))))))), (Npos (XI (XO (XO (XO (XO (XO (XI
+    XH))))))))) :: (((Npos (XO (XI (XO (XO (XO (XO (XI (XO (XI (XI (XO (XI
+    (XI XH)))))))))))))), (Npos (XI (XO (XI (XO (XO (XO (XI
+    XH))))))))) :: (((Npos (XI (XO (XI (XI (XI (XO (XI (XI (XI (XI (XO (XI
+    (XI XH)))))))))))))), (Npos (XI (XO (XI (XO (XO (XO (XI
+    XH))))))))) :: (((Npos (XO (XO (XO (XI (XO (XO (XO (XI (XO (XO (XI (XI
+    (XI XH)))))))))))))), (Npos (XI (XO (XI (XO (XO (XO (XI
+    XH))))))))) :: (((Npos (XI (XI (XO (XO (XO (XI (XO (XO (XI (XO (XI (XI
+    (XI XH)))))))))))))), (Npos (XI (XO (XI (XO (XO (XO (XI
+    XH))))))))) :: (((Npos (XO (XO (XO (XO (XO (XO (XI (XI (XI (XO (XI (XI
+    (XI XH)))))))))))))), (Npos (XI (XI (XI (XO (XO (XO (XI
+    XH))))))))) :: (((Npos (XI (XO (XO (XI (XO (XI (XI (XO (XO (XI (XI (XI
+    (XI XH)))))))))))))), (Npos (XI (XI (XI (XO (XO (XO (XI
+    XH))))))))) :: (((Npos (XI (XO (XO (XO (XO (XI (XO (XO (XI (XI (XI (XI
+    (XI XH)))))))))))))), (Npos (XI (XI (XO (XO (XI (XO (XI
+    XH))))))))) :: (((Npos (XO (XO (XO (XO (XI (XO (XI (XI (XI (XI (XI (XI
+    (XI XH)))))))))))))), (Npos (XI (XI (XO (XO (XI (XO (XI
+    XH))))))))) :: (((Npos (XI (XO (XO (XI (XI (XI (XI (XO (XO (XO (XO (XO
+    (XO (XO XH))))))))))))))), (Npos (XI (XI (XO (XO (XI (XO (XI
+    XH))))))))) :: (((Npos (XO (XI (XO (XO (XO (XI (XO (XO (XI (XO (XO (XO
+    (XO (XO XH))))))))))))))), (Npos (XI (XI (XO (XO (XI (XO (XI
+    XH))))))))) :: (((Npos (XI (XI (XO (XO (XI (XO (XI (XI (XI (XO (XO (XO
+    (XO (XO XH))))))))))))))), (Npos (XI (XI (XO (XO (XI (XO (XI
+    XH))))))))) :: (((Npos (XO (XO (XO (XO (XO (XO (XO (XI (XO (XI (XO (XO
+    (XO (XO XH))))))))))))))), (Npos (XI (XI (XO (XO (XI (XO (XI
+    XH))))))))) :: (((Npos (XI (XI (XO (XI (XO (XI (XO (XO (XI (XI (XO (XO
+    (XO (XO XH))))))))))))))), (Npos (XI (XI (XO (XO (XI (XO (XI
+    XH))))))))) :: (((Npos (XO (XO (XO (XO (XO (XI (XI (XI (XI (XI (XO (XO
+    (XO (XO XH))))))))))))))), (Npos (XI (XI (XO (XO (XI (XO (XI
+    XH))))))))) :: (((Npos (XI (XI (XI (XO (XI (XO (XO (XI (XO (XO (XI (XO
+    (XO (XO XH))))))))))))))), (Npos (XI (XI (XO (XO (XI (XO (XI
+    XH))))))))) :: (((Npos (XO (XI (XI (XI (XO (XO (XI (XO (XI (XO (XI (XO
+    (XO (XO XH))))))))))))))), (Npos (XI (XI (XO (XO (XI (XO (XI
+    XH))))))))) :: (((Npos (XI (XO (XO (XI (XO (XO (XO (XO (XO (XI (XI (XO
+    (XO (XO XH))))))))))))))), (Npos (XI (XI (XO (XO (XI (XO (XI
+    XH))))))))) :: (((Npos (XO (XO (XI (XO (XO (XO (XI (XI (XO (XI (XI (XO
+    (XO (XO XH))))))))))))))), (Npos (XI (XI (XI (XI (XI (XO (XI
+    XH))))))))) :: (((Npos (XI (XO (XI (XO (XO (XO (XO (XI (XI (XI (XI (XO
+    (XO (XO XH))))))))))))))), (Npos (XI (XI (XI (XI (XI (XO (XI
+    XH))))))))) :: (((Npos (XI (XI (XI (XO (XO (XO (XI (XO (XO (XO (XO (XI
+    (XO (XO XH))))))))))))))), (Npos (XI (XI (XI (XI (XI (XO (XI
+    XH))))))))) :: (((Npos (XO (XI (XI (XO (XO (XO (XO (XO (XI (XO (XO (XI
+    (XO (XO XH))))))))))))))), (Npos (XI (XI (XI (XI (XI (XO (XI
+    XH))))))))) :: (((Npos (XI (XO (XI (XI (XI (XO (XI (XI (XI (XO (XO (XI
+    (XO (XO XH))))))))))))))), (Npos (XI (XI (XI (XI (XI (XO (XI
+    XH))))))))) :: (((Npos (XO (XI (XI (XO (XI (XI (XO (XI (XO (XI (XO (XI
+    (XO (XO XH))))))))))))))), (Npos (XI (XI (XI (XI (XI (XO (XI
+    XH))))))))) :: (((Npos (XI (XO (XI (XI (XI (XI (XI (XO (XI (XI (XO (XI
+    (XO (XO XH))))))))))))))), (Npos (XI (XI (XI (XI (XI (XO (XI
+    XH))))))))) :: (((Npos (XI (XI (XO (XO (XI (XO (XI (XO (XO (XO (XI (XI
+    (XO (XO XH))))))))))))))), (Npos (XI (XI (XI (XI (XI (XO (XI
+    XH))))))))) :: (((Npos (XO (XO (XI (XI (XI (XO (XO (XO (XI (XO (XI (XI
+    (XO (XO XH))))))))))))))), (Npos (XI (XI (XI (XI (XI (XO (XI
+    XH))))))))) :: (((Npos (XI (XI (XO (XO (XO (XI (XI (XI (XI (XO (XI (XI
+    (XO (XO XH))))))))))))))), (Npos (XI (XI (XI (XI (XI (XO (XI
+    XH))))))))) :: (((Npos (XO (XO (XO (XI (XI (XI (XO (XI (XO (XI (XI (XI
+    (XO (XO XH))))))))))))))), (Npos (XI (XI (XO (XO (XO (XI (XI
+    XH))))))))) :: (((Npos (XI (XI (XO (XO (XO (XO (XO (XI (XI (XI (XI (XI
+    (XO (XO XH))))))))))))))), (Npos (XI (XI (XO (XO (XO (XI (XI
+    XH))))))))) :: (((Npos (XO (XO (XI (XO (XI (XO (XI (XO (XO (XO (XO (XO
+    (XI (XO XH))))))))))))))), (Npos (XI (XI (XO (XO (XO (XI (XI
+    XH))))))))) :: (((Npos (XO (XI (XO (XI (XO (XI (XO (XO (XI (XO (XO (XO
+    (XI (XO XH))))))))))))))), (Npos (XI (XI (XO (XO (XO (XI (XI
+    XH))))))))) :: (((Npos (XO (XO (XI (XI (XI (XI (XI (XI (XI (XO (XO (XO
+    (XI (XO XH))))))))))))))), (Npos (XI (XO (XI (XO (XO (XI (XI
+    XH))))))))) :: (((Npos (XI (XI (XI (XI (XO (XO (XI (XI (XO (XI (XO (XO
+    (XI (XO XH))))))))))))))), (Npos (XI (XO (XO (XI (XO (XI (XI
+    XH))))))))) :: (((Npos (XO (XO (XI (XO (XO (XI (XO (XI (XI (XI (XO (XO
+    (XI (XO XH))))))))))))))), (Npos (XI (XO (XO (XI (XO (XI (XI
+    XH))))))))) :: (((Npos (XI (XO (XI (XI (XI (XI (XI (XO (XO (XO (XI (XO
+    (XI (XO XH))))))))))))))), (Npos (XI (XO (XO (XI (XO (XI (XI
+    XH))))))))) :: (((Npos (XO (XO (XI (XI (XI (XO (XI (XO (XI (XO (XI (XO
+    (XI (XO XH))))))))))))))), (Npos (XI (XO (XO (XI (XO (XI (XI
+    XH))))))))) :: (((Npos (XI (XO (XO (XI (XI (XI (XO (XO (XO (XI (XI (XO
+    (XI (XO XH))))))))))))))), (Npos (XI (XI (XI (XI (XO (XI (XI
+    XH))))))))) :: (((Npos (XI (XO (XI (XI (XI (XO (XO (XO (XI (XI (XI (XO
+    (XI (XO XH))))))))))))))), (Npos (XI (XI (XI (XI (XO (XI (XI
+    XH))))))))) :: (((Npos (XO (XO (XO (XI (XO (XO (XO (XO (XO (XO (XO (XI
+    (XI (XO XH))))))))))))))), (Npos (XI (XI (XI (XI (XO (XI (XI
+    XH))))))))) :: (((Npos (XI (XI (XO (XI (XI (XI (XI (XI (XO (XO (XO (XI
+    (XI (XO XH))))))))))))))), (Npos (XI (XI (XI (XI (XO (XI (XI
+    XH))))))))) :: (((Npos (XO (XI (XO (XO (XO (XI (XI (XI (XI (XO (XO (XI
+    (XI (XO XH))))))))))))))), (Npos (XI (XI (XI (XI (XO (XI (XI
+    XH))))))))) :: (((Npos (XO (XO (XI (XO (XI (XO (XI (XI (XO (XI (XO (XI
+    (XI (XO XH))))))))))))))), (Npos (XI (XO (XO (XO (XI (XI (XI
+    XH))))))))) :: (((Npos (XI (XI (XO (XO (XO (XO (XI (XI (XI (XI (XO (XI
+    (XI (XO XH))))))))))))))), (Npos (XI (XI (XO (XI (XI (XI (XI
+    XH))))))))) :: (((Npos (XO (XI (XO (XO (XI (XI (XO (XI (XO (XO (XI (XI
+    (XI (XO XH))))))))))))))), (Npos (XI (XI (XO (XI (XI (XI (XI
+    XH))))))))) :: (((Npos (XI (XI (XO (XO (XO (XI (XO (XI (XI (XO (XI (XI
+    (XI (XO XH))))))))))))))), (Npos (XI (XI (XO (XI (XI (XI (XI
+    XH))))))))) :: (((Npos (XI (XI (XI (XO (XI (XO (XO (XI (XO (XI (XI (XI
+    (XI (XO XH))))))))))))))), (Npos (XI (XI (XO (XI (XI (XI (XI
+    XH))))))))) :: (((Npos (XO (XO (XI (XI (XI (XO (XO (XI (XI (XI (XI (XI
+    (XI (XO XH))))))))))))))), (Npos (XI (XI (XO (XI (XI (XI (XI
+    XH))))))))) :: (((Npos (XI (XO (XO (XO (XI (XO (XO (XI (XO (XO (XO (XO
+    (XO (XI XH))))))))))))))), (Npos (XI (XI (XO (XI (XI (XI (XI
+    XH))))))))) :: (((Npos (XO (XO (XO (XO (XI (XO (XO (XI (XI (XO (XO (XO
+    (XO (XI XH))))))))))))))), (Npos (XI (XI (XO (XI (XI (XI (XI
+    XH))))))))) :: (((Npos (XO (XI (XI (XI (XO (XO (XO (XI (XO (XI (XO (XO
+    (XO (XI XH))))))))))))))), (Npos (XI (XI (XO (XI (XI (XI (XI
+    XH))))))))) :: (((Npos (XI (XO (XI (XO (XI (XO (XO (XI (XI (XI (XO (XO
+    (XO (XI XH))))))))))))))), (Npos (XI (XO (XO (XO (XO (XO (XO (XO
+    XH)))))))))) :: (((Npos (XO (XO (XI (XI (XI (XO (XO (XI (XO (XO (XI (XO
+    (XO (XI XH))))))))))))))), (Npos (XI (XO (XO (XO (XO (XO (XO (XO
+    XH)))))))))) :: (((Npos (XO (XI (XI (XO (XO (XI (XO (XI (XI (XO (XI (XO
+    (XO (XI XH))))))))))))))), (Npos (XI (XO (XO (XO (XO (XO (XO (XO
+    XH)))))))))) :: (((Npos (XI (XI (XO (XO (XI (XI (XO (XI (XO (XI (XI (XO
+    (XO (XI XH))))))))))))))), (Npos (XI (XO (XO (XO (XO (XO (XO (XO
+    XH)))))))))) :: (((Npos (XO (XI (XI (XO (XO (XO (XI (XI (XI (XI (XI (XO
+    (XO (XI XH))))))))))))))), (Npos (XI (XO (XO (XO (XO (XO (XO (XO
+    XH)))))))))) :: (((Npos (XO (XI (XI (XO (XI (XO (XI (XI (XO (XO (XO (XI
+    (XO (XI XH))))))))))))))), (Npos (XI (XI (XI (XO (XO (XO (XO (XO
+    XH)))))))))) :: (((Npos (XI (XI (XI (XO (XO (XI (XI (XI (XI (XO (XO (XI
+    (XO (XI XH))))))))))))))), (Npos (XI (XI (XI (XO (XO (XO (XO (XO
+    XH)))))))))) :: (((Npos (XO (XO (XO (XO (XO (XO (XO (XO (XI (XI (XO (XI
+    (XO (XI XH))))))))))))))), (Npos (XI (XI (XI (XO (XO (XO (XO (XO
+    XH)))))))))) :: (((Npos (XO (XI (XO (XO (XO (XI (XO (XO (XO (XO (XI (XI
+    (XO (XI XH))))))))))))))), (Npos (XI (XI (XI (XO (XO (XO (XO (XO
+    XH)))))))))) :: (((Npos (XI (XI (XI (XO (XI (XI (XO (XO (XI (XO (XI (XI
+    (XO (XI XH))))))))))))))), (Npos (XI (XO (XI (XI (XO (XO (XO (XO
+    XH)))))))))) :: (((Npos (XO (XO (XO (XI (XI (XO (XI (XO (XO (XI (XI (XI
+    (XO (XI XH))))))))))))))), (Npos (XI (XO (XI (XI (XO (XO (XO (XO
+    XH)))))))))) :: (((Npos (XO (XO (XI (XO (XO (XO (XO (XI (XI (XI (XI (XI
+    (XO (XI XH))))))))))))))), (Npos (XI (XO (XI (XI (XO (XO (XO (XO
+    XH)))))))))) :: (((Npos (XI (XO (XI (XI (XO (XI (XO (XI (XO (XO (XO (XO
+    (XI (XI XH))))))))))))))), (Npos (XI (XO (XI (XI (XO (XO (XO (XO
+    XH)))))))))) :: (((Npos (XO (XI (XO (XO (XI (XO (XI (XI (XI (XO (XO (XO
+    (XI (XI XH))))))))))))))), (Npos (XI (XO (XI (XI (XO (XO (XO (XO
+    XH)))))))))) :: (((Npos (XO (XI (XO (XI (XI (XI (XI (XI (XO (XI (XO (XO
+    (XI (XI XH))))))))))))))), (Npos (XI (XI (XI (XI (XO (XO (XO (XO
+    XH)))))))))) :: (((Npos (XI (XI (XO (XO (XO (XI (XO (XO (XO (XO (XI (XO
+    (XI (XI XH))))))))))))))), (Npos (XI (XO (XI (XO (XI (XO (XO (XO
+    XH)))))))))) :: (((Npos (XI (XO (XI (XO (XI (XO (XI (XO (XI (XO (XI (XO
+    (XI (XI XH))))))))))))))), (Npos (XI (XO (XI (XO (XI (XO (XO (XO
+    XH)))))))))) :: (((Npos (XO (XI (XO (XI (XO (XO (XO (XI (XO (XI (XI (XO
+    (XI (XI XH))))))))))))))), (Npos (XI (XO (XI (XO (XI (XO (XO (XO
+    XH)))))))))) :: (((Npos (XO (XI (XI (XI (XI (XI (XO (XI (XI (XI (XI (XO
+    (XI (XI XH))))))))))))))), (Npos (XI (XO (XI (XO (XI (XO (XO (XO
+    XH)))))))))) :: (((Npos (XO (XI (XI (XI (XI (XI (XI (XI (XO (XO (XO (XI
+    (XI (XI XH))))))))))))))), (Npos (XI (XO (XO (XI (XI (XO (XO (XO
+    XH)))))))))) :: (((Npos (XI (XO (XI (XO (XI (XI (XO (XO (XO (XI (XO (XI
+    (XI (XI XH))))))))))))))), (Npos (XI (XO (XO (XI (XI (XO (XO (XO
+    XH)))))))))) :: (((Npos (XI (XO (XI (XO (XI (XI (XI (XO (XI (XI (XO (XI
+    (XI (XI XH))))))))))))))), (Npos (XI (XO (XO (XI (XI (XO (XO (XO
+    XH)))))))))) :: (((Npos (XO (XO (XI (XI (XO (XO (XI (XI (XO (XO (XI (XI
+    (XI (XI XH))))))))))))))), (Npos (XI (XI (XO (XI (XI (XO (XO (XO
+    XH)))))))))) :: (((Npos (XO (XO (XO (XO (XI (XO (XO (XO (XO (XI (XI (XI
+    (XI (XI XH))))))))))))))), (Npos (XI (XO (XI (XO (XO (XI (XO (XO
+    XH)))))))))) :: (((Npos (XI (XO (XO (XI (XI (XO (XI (XO (XI (XI (XI (XI
+    (XI (XI XH))))))))))))))), (Npos (XI (XO (XI (XO (XO (XI (XO (XO
+    XH)))))))))) :: (((Npos (XO (XO (XI (XO (XO (XI (XO (XI (XO (XO (XO (XO
+    (XO (XO (XO XH)))))))))))))))), (Npos (XI (XO (XI (XO (XO (XI (XO (XO
+    XH)))))))))) :: (((Npos (XO (XI (XO (XO (XO (XO (XO (XO (XO (XI (XO (XO
+    (XO (XO (XO XH)))))))))))))))), (Npos (XI (XO (XI (XO (XO (XI (XO (XO
+    XH)))))))))) :: (((Npos (XI (XI (XI (XO (XI (XO (XI (XO (XI (XI (XO (XO
+    (XO (XO (XO XH)))))))))))))))), (Npos (XI (XO (XI (XO (XO (XI (XO (XO
+    XH)))))))))) :: (((Npos (XI (XO (XO (XI (XO (XI (XO (XI (XO (XO (XI (XO
+    (XO (XO (XO XH)))))))))))))))), (Npos (XI (XO (XI (XO (XO (XI (XO (XO
+    XH)))))))))) :: (((Npos (XO (XI (XI (XI (XI (XI (XI (XI (XI (XO (XI (XO
+    (XO (XO (XO XH)))))))))))))))), (Npos (XI (XO (XI (XO (XO (XI (XO (XO
+    XH)))))))))) :: (((Npos (XO (XI (XI (XI (XI (XO (XI (XO (XI (XI (XI (XO
+    (XO (XO (XO XH)))))))))))))))), (Npos (XI (XI (XO (XO (XI (XI (XO (XO
+    XH)))))))))) :: (((Npos (XI (XI (XI (XO (XI (XO (XI (XI (XO (XO (XO (XI
+    (XO (XO (XO XH)))))))))))))))), (Npos (XI (XI (XO (XO (XI (XI (XO (XO
+    XH)))))))))) :: (((Npos (XI (XI (XO (XO (XO (XO (XI (XO (XO (XI (XO (XI
+    (XO (XO (XO XH)))))))))))))))), (Npos (XI (XI (XO (XO (XI (XI (XO (XO
+    XH)))))))))) :: (((Npos (XO (XI (XI (XO (XO (XI (XO (XI (XI (XI (XO (XI
+    (XO (XO (XO XH)))))))))))))))), (Npos (XI (XI (XO (XO (XI (XI (XO (XO
+    XH)))))))))) :: (((Npos (XO (XO (XO (XO (XI (XO (XO (XO (XI (XO (XI (XI
+    (XO (XO (XO XH)))))))))))))))), (Npos (XI (XI (XO (XO (XI (XI (XO (XO
+    XH)))))))))) :: (((Npos (XI (XI (XI (XI (XI (XI (XI (XO (XO (XI (XI (XI
+    (XO (XO (XO XH)))))))))))))))), (Npos (XI (XI (XO (XO (XI (XI (XO (XO
+    XH)))))))))) :: (((Npos (XI (XO (XO (XO (XI (XI (XI (XI (XI (XI (XI (XI
+    (XO (XO (XO XH)))))))))))))))), (Npos (XI (XI (XO (XO (XI (XI (XO (XO
+    XH)))))))))) :: (((Npos (XI (XI (XO (XI (XO (XI (XI (XO (XI (XO (XO (XO
+    (XI (XO (XO XH)))))))))))))))), (Npos (XI (XI (XO (XO (XI (XI (XO (XO
+    XH)))))))))) :: (((Npos (XO (XI (XI (XO (XO (XI (XI (XI (XO (XI (XO (XO
+    (XI (XO (XO XH)))))))))))))))), (Npos (XI (XI (XO (XO (XI (XI (XO (XO
+    XH)))))))))) :: (((Npos (XO (XO (XO (XI (XO (XI (XI (XO (XO (XO (XI (XO
+    (XI (XO (XO XH)))))))))))))))), (Npos (XI (XI (XI (XO (XI (XI (XO (XO
+    XH)))))))))) :: (((Npos (XI (XO (XO (XO (XI (XI (XI (XI (XI (XO (XI (XO
+    (XI (XO (XO XH)))))))))))))))), (Npos (XI (XI (XI (XO (XI (XI (XO (XO
+    XH)))))))))) :: (((Npos (XI (XI (XO (XO (XO (XO (XO (XI (XI (XI (XI (XO
+    (XI (XO (XO XH)))))))))))))))), (Npos (XI (XI (XI (XO (XI (XI (XO (XO
+    XH)))))))))) :: (((Npos (XO (XO (XO (XI (XO (XO (XO (XO (XI (XO (XO (XI
+    (XI (XO (XO XH)))))))))))))))), (Npos (XI (XO (XO (XI (XI (XI (XO (XO
+    XH)))))))))) :: (((Npos (XO (XO (XO (XI (XI (XO (XO (XI (XO (XI (XO (XI
+    (XI (XO (XO XH)))))))))))))))), (Npos (XI (XO (XI (XI (XI (XI (XO (XO
+    XH)))))))))) :: (((Npos (XO (XO (XI (XI (XO (XI (XO (XO (XO (XO (XI (XI
+    (XI (XO (XO XH)))))))))))))))), (Npos (XI (XO (XI (XI (XI (XI (XO (XO
+    XH)))))))))) :: (((Npos (XO (XI (XI (XI (XO (XO (XI (XI (XI (XO (XI (XI
+    (XI (XO (XO XH)))))))))))))))), (Npos (XI (XO (XI (XI (XI (XI (XO (XO
+    XH)))))))))) :: (((Npos (XO (XO (XO (XO (XI (XI (XI (XO (XI (XI (XI (XI
+    (XI (XO (XO XH)))))))))))))))), (Npos (XI (XI (XO (XI (XO (XO (XI (XO
+    XH)))))))))) :: (((Npos (XO (XI (XO (XI (XO (XO (XO (XO (XI (XO (XO (XO
+    (XO (XI (XO XH)))))))))))))))), (Npos (XI (XI (XO (XI (XO (XO (XI (XO
+    XH)))))))))) :: (((Npos (XI (XO (XO (XI (XO (XI (XO (XI (XO (XI (XO (XO
+    (XO (XI (XO XH)))))))))))))))), (Npos (XI (XI (XO (XI (XO (XO (XI (XO
+    XH)))))))))) :: (((Npos (XI (XI (XO (XO (XI (XO (XI (XO (XO (XO (XI (XO
+    (XO (XI (XO XH)))))))))))))))), (Npos (XI (XI (XO (XI (XO (XO (XI (XO
+    XH)))))))))) :: (((Npos (XO (XI (XO (XI (XI (XI (XI (XI (XI (XO (XI (XO
+    (XO (XI (XO XH)))))))))))))))), (Npos (XI (XI (XO (XI (XO (XO (XI (XO
+    XH)))))))))) :: (((Npos (XO (XO (XI (XO (XO (XI (XO (XI (XI (XI (XI (XO
+    (XO (XI (XO XH)))))))))))))))), (Npos (XI (XI (XO (XI (XO (XO (XI (XO
+    XH)))))))))) :: (((Npos (XO (XO (XI (XI (XI (XI (XI (XO (XI (XO (XO (XI
+    (XO (XI (XO XH)))))))))))))))), (Npos (XI (XI (XO (XI (XO (XO (XI (XO
+    XH)))))))))) :: (((Npos (XO (XO (XO (XO (XO (XO (XI (XO (XI (XI (XO (XI
+    (XO (XI (XO XH)))))))))))))))), (Npos (XI (XI (XO (XI (XO (XO (XI (XO
+    XH)))))))))) :: (((Npos (XI (XI (XI (XO (XI (XI (XI (XI (XO (XO (XI (XI
+    (XO (XI (XO XH)))))))))))))))), (Npos (XI (XO (XO (XO (XI (XO (XI (XO
+    XH)))))))))) :: (((Npos (XI (XO (XO (XI (XI (XI (XO (XI (XO (XI (XI (XI
+    (XO (XI (XO XH)))))))))))))))), (Npos (XI (XO (XO (XO (XI (XO (XI (XO
+    XH)))))))))) :: (((Npos (XI (XI (XI (XI (XI (XI (XI (XO (XO (XO (XO (XO
+    (XI (XI (XO XH)))))))))))))))), (Npos (XI (XO (XO (XO (XI (XO (XI (XO
+    XH)))))))))) :: (((Npos (XO (XI (XI (XO (XO (XO (XI (XO (XO (XI (XO (XO
+    (XI (XI (XO XH)))))))))))))))), (Npos (XI (XO (XO (XO (XI (XO (XI (XO
+    XH)))))))))) :: (((Npos (XO (XO (XO (XI (XI (XO (XO (XO (XO (XO (XI (XO
+    (XI (XI (XO XH)))))))))))))))), (Npos (XI (XI (XO (XI (XI (XO (XI (XO
+    XH)))))))))) :: (((Npos (XO (XI (XI (XI (XO (XI (XI (XI (XI (XO (XI (XO
+    (XI (XI (XO XH)))))))))))))))), (Npos (XI (XI (XO (XI (XI (XO (XI (XO
+    XH)))))))))) :: (((Npos (XI (XI (XI (XO (XO (XO (XI (XI (XI (XI (XI (XO
+    (XI (XI (XO XH)))))))))))))))), (Npos (XI (XI (XO (XI (XI (XO (XI (XO
+    XH)))))))))) :: (((Npos (XI (XI (XO (XO (XO (XI (XO (XI (XI (XO (XO (XI
+    (XI (XI (XO XH)))))))))))))))), (Npos (XI (XI (XO (XI (XI (XO (XI (XO
+    XH)))))))))) :: (((Npos (XI (XI (XI (XO (XO (XO (XO (XI (XI (XI (XO (XI
+    (XI (XI (XO XH)))))))))))))))), (Npos (XI (XI (XO (XI (XI (XO (XI (XO
+    XH)))))))))) :: (((Npos (XI (XO (XO (XI (XO (XI (XI (XO (XI (XO (XI (XI
+    (XI (XI (XO XH)))))))))))))))), (Npos (XI (XO (XI (XI (XI (XO (XI (XO
+    XH)))))))))) :: (((Npos (XO (XO (XO (XO (XI (XO (XI (XO (XI (XI (XI (XI
+    (XI (XI (XO XH)))))))))))))))), (Npos (XI (XO (XI (XI (XI (XO (XI (XO
+    XH)))))))))) :: (((Npos (XO (XI (XI (XI (XI (XI (XO (XO (XI (XO (XO (XO
+    (XO (XO (XI XH)))))))))))))))), (Npos (XI (XO (XO (XO (XO (XI (XI (XO
+    XH)))))))))) :: (((Npos (XO (XI (XO (XI (XI (XI (XO (XO (XI (XI (XO (XO
+    (XO (XO (XI XH)))))))))))))))), (Npos (XI (XO (XO (XO (XO (XI (XI (XO
+    XH)))))))))) :: (((Npos (XI (XI (XI (XI (XO (XO (XI (XO (XI (XO (XI (XO
+    (XO (XO (XI XH)))))))))))))))), (Npos (XI (XI (XI (XO (XO (XI (XI (XO
+    XH)))))))))) :: (((Npos (XI (XO (XO (XI (XO (XO (XI (XO (XI (XI (XI (XO
+    (XO (XO (XI XH)))))))))))))))), (Npos (XI (XI (XI (XO (XO (XI (XI (XO
+    XH)))))))))) :: (((Npos (XO (XI (XO (XI (XO (XO (XI (XO (XI (XO (XO (XI
+    (XO (XO (XI XH)))))))))))))))), (Npos (XI (XI (XI (XO (XO (XI (XI (XO
+    XH)))))))))) :: (((Npos (XO (XI (XI (XI (XI (XO (XI (XO (XI (XI (XO (XI
+    (XO (XO (XI XH)))))))))))))))), (Npos (XI (XI (XI (XI (XO (XI (XI (XO
+    XH)))))))))) :: (((Npos (XO (XI (XO (XI (XO (XI (XI (XO (XI (XO (XI (XI
+    (XO (XO (XI XH)))))))))))))))), (Npos (XI (XI (XI (XI (XO (XI (XI (XO
+    XH)))))))))) :: (((Npos (XO (XI (XO (XI (XI (XI (XI (XO (XI (XI (XI (XI
+    (XO (XO (XI XH)))))))))))))))), (Npos (XI (XI (XI (XI (XO (XI (XI (XO
+    XH)))))))))) :: (((Npos (XO (XI (XO (XO (XI (XO (XO (XI (XI (XO (XO (XO
+    (XI (XO (XI XH)))))))))))))))), (Npos (XI (XI (XI (XI (XO (XI (XI (XO
+    XH)))))))))) :: (((Npos (XO (XO (XI (XI (XO (XI (XO (XI (XI (XI (XO (XO
+    (XI (XO (XI XH)))))))))))))))), (Npos (XI (XO (XI (XO (XI (XI (XI (XO
+    XH)))))))))) :: (((Npos (XI (XI (XI (XI (XO (XO (XI (XI (XI (XO (XI (XO
+    (XI (XO (XI XH)))))))))))))))), (Npos (XI (XO (XI (XO (XI (XI (XI (XO
+    XH)))))))))) :: (((Npos (XI (XO (XO (XI (XI (XI (XI (XI (XI (XI (XI (XO
+    (XI (XO (XI XH)))))))))))))))), (Npos (XI (XO (XI (XO (XI (XI (XI (XO
+    XH)))))))))) :: (((Npos (XI (XI (XO (XO (XO (XI (XO (XO (XO (XI (XO (XI
+    (XI (XO (XI XH)))))))))))))))), (Npos (XI (XO (XI (XO (XI (XI (XI (XO
+    XH)))))))))) :: (((Npos (XI (XI (XO (XO (XI (XO (XI (XO (XO (XO (XI (XI
+    (XI (XO (XI XH)))))))))))))))), (Npos (XI (XI (XO (XI (XI (XI (XI (XO
+    XH)))))))))) :: []))))))))))))))))))))))))))))))))))))))))))))))))))))))))))))))))))))))))))))))))))))))))))))))))))))))))))))))))))))))))))))))))))))))))))))))))))))))))))))))))))))))))))))))))))))))))))))))))))))))))))))))))))))))))))))))))))))))))))))))))))))))))))))))))))))))))))))))))))))))))))))))))))))))))))))))))))))))))))))))))))))))))))))))))))))))))))))))))))))))))))))))))))))))))))))))))))))))))))))))))))))))))))))))))))))))))))))))))))))))))))))))))))))))))))))))))))))))))))))
+
+(** val r_k : ((((n * n) * n) * n) * n) -> n **)
+
+let r_k = function
+| (p, _) -> let (p0, _) = p in let (p1, _) = p0 in let (k, _) = p1 in k
+
+(** val r_j : ((((n * n) * n) * n) * n) -> n **)
+
+let r_j = function
+| (p, _) -> let (p0, _) = p in let (p1, _) = p0 in let (_, j) = p1 in j
+
+(** val r_s : ((((n * n) * n) * n) * n) -> n **)
+
+let r_s = function
+| (p, _) -> let (p0, _) = p in let (_, s) = p0 in s
+
+(** val r_h : ((((n * n) * n) * n) * n) -> n **)
+
+let r_h = function
+| (p, _) -> let (_, h) = p in h
+
+(** val r_w : ((((n * n) * n) * n) * n) -> n **)
+
+let r_w = function
+| (_, w) -> w
+
+(** val scan_tab : ('a1 -> n) -> ('a1 -> n) -> n -> 'a1 list -> n outcome **)
+
+let rec scan_tab key0 sel0 k = function
+| [] -> Panic PUnreachable
+| r :: t0 -> if N.leb k (key0 r) then Ok (sel0 r) else scan_tab key0 sel0 k t0
+
+(** val lookup5 : (((((n * n) * n) * n) * n) -> n) -> n -> n outcome **)
+
+let lookup5 sel0 k =
+  if N.leb k mAX_SOURCE_SYMBOLS_PER_BLOCK
+  then scan_tab r_k sel0 k tABLE2
+  else Panic PAssert
+
+(** val extended_source_block_symbols : n -> n outcome **)
+
+let extended_source_block_symbols k =
+  lookup5 r_k k
+
+(** val systematic_index : n -> n outcome **)
+
+let systematic_index k =
+  lookup5 r_j k
+
+(** val num_hdpc_symbols : n -> n outcome **)
+
+let num_hdpc_symbols k =
+  lookup5 r_h k
+
+(** val num_ldpc_symbols : n -> n outcome **)
+
+let num_ldpc_symbols k =
+  lookup5 r_s k
+
+(** val num_lt_symbols : n -> n outcome **)
+
+let num_lt_symbols k =
+  lookup5 r_w k
+
+(** val num_intermediate_symbols : n -> n outcome **)
+
+let num_intermediate_symbols k =
+  obind (extended_source_block_symbols k) (fun k' ->
+    obind (num_ldpc_symbols k) (fun s ->
+      obind (num_hdpc_symbols k) (fun h -> Ok (N.add (N.add k' s) h))))
+
+(** val num_pi_symbols : n -> n outcome **)
+
+let num_pi_symbols k =
+  obind (num_intermediate_symbols k) (fun l ->
+    obind (num_lt_symbols k) (fun w -> Ok (N.sub l w)))
+
+(** val calculate_p1 : n -> n outcome **)
+
+let calculate_p1 k =
+  if N.leb k mAX_SOURCE_SYMBOLS_PER_BLOCK
+  then scan_tab fst snd k p1_TABLE
+  else Panic PAssert
+
+(** val v0 : n list **)
+
+let v0 =
+  (Npos (XO (XO (XO (XO (XO (XO (XO (XO (XO (XI (XI (XO (XO (XI (XI (XO (XO
+    (XI (XO (XI (XI (XI (XI (XI (XO (XI (XI
+    XH)))))))))))))))))))))))))))) :: ((Npos (XI (XI (XI (XI (XO (XO (XI (XI
+    (XO (XO (XI (XO (XO (XO (XI (XO (XO (XI (XO (XO (XI (XO (XO (XI (XI (XI
+    (XO (XI (XO (XI (XI XH)))))))))))))))))))))))))))))))) :: ((Npos (XO (XO
+    (XI (XO (XO (XI (XO (XO (XI (XI (XI (XI (XI (XI (XO (XI (XO (XO (XI (XI
+    (XO (XI (XI (XI (XO (XO (XO (XI (XO (XO (XI
+    XH)))))))))))))))))))))))))))))))) :: ((Npos (XO (XO (XO (XO (XO (XO (XO
+    (XI (XI (XO (XI (XO (XI (XO (XI (XI (XI (XO (XO (XI (XI (XO (XO (XI (XO
+    (XI (XO (XO (XI (XI (XI XH)))))))))))))))))))))))))))))))) :: ((Npos (XI
+    (XI (XI (XO (XO (XO (XO (XI (XI (XI (XI (XO (XI (XI (XI (XO (XO (XI (XI
+    (XI (XI (XO (XI (XO (XI (XI XH))))))))))))))))))))))))))) :: ((Npos (XI
+    (XI (XO (XI (XO (XO (XO (XI (XO (XI (XO (XO (XO (XI (XI (XI (XI (XO (XI
+    (XI (XI (XI (XO (XI (XI (XI (XI (XO (XO (XO (XI
+    XH)))))))))))))))))))))))))))))))) :: ((Npos (XI (XO (XO (XI (XO (XO (XI
+    (XI (XO (XI (XO (XI (XI (XO (XO (XO (XI (XO (XO (XI (XI (XO (XI (XI (XI
+    (XI (XI (XI (XI (XI (XO XH)))))))))))))))))))))))))))))))) :: ((Npos (XI
+    (XI (XO (XO (XI (XI (XO (XI (XI (XO (XO (XI (XI (XI (XO (XO (XI (XI (XI
+    (XO (XO (XI (XI (XI (XI (XI (XI (XO (XI (XI
+    XH))))))))))))))))))))))))))))))) :: ((Npos (XO (XI (XO (XO (XI (XO (XI
+    (XI (XI (XO (XO (XO (XO (XO (XO (XI (XI (XI (XO (XI (XO (XI (XO (XO (XO
+    (XI (XI (XI (XO XH)))))))))))))))))))))))))))))) :: ((Npos (XI (XO (XI
+    (XO (XO (XO (XI (XO (XI (XO (XI (XO (XO (XI (XI (XI (XI (XI (XI (XO (XI
+    (XI (XO (XO (XI (XI (XI (XI (XO (XO (XO
+    XH)))))))))))))))))))))))))))))))) :: ((Npos (XO (XI (XO (XO (XI (XO (XI
+    (XO (XO (XO (XI (XI (XO (XI (XI (XO (XI (XO (XI (XI (XI (XO (XI (XI (XI
+    (XI (XO (XI (XI XH)))))))))))))))))))))))))))))) :: ((Npos (XI (XO (XO
+    (XO (XI (XI (XO (XI (XO (XI (XO (XI (XO (XI (XI (XO (XO (XO (XO (XI (XO
+    (XI (XI (XI (XI (XO (XI (XI (XO (XI
+    XH))))))))))))))))))))))))))))))) :: ((Npos (XO (XO (XI (XI (XI (XI (XI
+    (XI (XI (XI (XO (XI (XI (XO (XI (XO (XO (XO (XO (XO (XI (XO (XO (XI (XI
+    (XO (XO (XI XH))))))))))))))))))))))))))))) :: ((Npos (XO (XO (XO (XO (XI
+    (XO (XI (XO (XI (XO (XI (XI (XI (XI (XI (XO (XO (XO (XI (XI (XO (XO (XI
+    (XO (XI (XI (XI (XI (XI (XO (XI
+    XH)))))))))))))))))))))))))))))))) :: ((Npos (XO (XO (XO (XI (XI (XO (XO
+    (XI (XI (XI (XO (XI (XO (XI (XO (XI (XO (XO (XO (XI (XI (XO (XI (XI (XO
+    (XI (XI (XI (XI (XO XH))))))))))))))))))))))))))))))) :: ((Npos (XI (XI
+    (XO (XI (XI (XI (XO (XO (XI (XO (XI (XO (XI (XI (XI (XI (XO (XI (XI (XI
+    (XO (XO (XI (XI (XO (XI (XI (XO (XI (XI (XO
+    XH)))))))))))))))))))))))))))))))) :: ((Npos (XI (XI (XI (XI (XI (XI (XO
+    (XI (XO (XI (XI (XO (XO (XO (XI (XI (XI (XI (XI (XI (XO (XI (XI (XO (XI
+    (XO (XI (XO (XI (XO XH))))))))))))))))))))))))))))))) :: ((Npos (XO (XI
+    (XO (XI (XI (XI (XI (XO (XI (XI (XO (XO (XO (XO (XO (XI (XO (XI (XO (XI
+    (XO (XO (XO (XO (XO (XI (XI (XI XH))))))))))))))))))))))))))))) :: ((Npos
+    (XI (XO (XI (XI (XO (XO (XO (XO (XO (XI (XI (XO (XO (XI (XI (XI (XI (XI
+    (XI (XO (XO (XI (XO (XO (XI (XO (XO (XI (XI (XI
+    XH))))))))))))))))))))))))))))))) :: ((Npos (XO (XO (XO (XI (XO (XI (XI
+    (XI (XI (XO (XI (XI (XO (XI (XO (XI (XO (XI (XI (XI (XO (XO (XI (XI (XI
+    (XI (XO (XI (XO (XO (XI XH)))))))))))))))))))))))))))))))) :: ((Npos (XO
+    (XI (XI (XO (XO (XI (XI (XI (XI (XI (XI (XI (XI (XO (XI (XO (XI (XI (XO
+    (XI (XI (XI (XO (XO (XI (XI (XI (XO (XO (XI (XO
+    XH)))))))))))))))))))))))))))))))) :: ((Npos (XO (XI (XO (XI (XI (XI (XI
+    (XO (XO (XI (XI (XI (XO (XI (XI (XO (XI (XI (XO (XI (XO (XI (XI (XI (XO
+    (XO (XO (XI (XI (XI (XO XH)))))))))))))))))))))))))))))))) :: ((Npos (XO
+    (XI (XO (XO (XI (XI (XO (XI (XI (XO (XI (XO (XI (XI (XO (XI (XI (XI (XO
+    (XO (XO (XO (XO (XO (XI (XI (XO (XO (XO (XI (XI
+    XH)))))))))))))))))))))))))))))))) :: ((Npos (XI (XI (XO (XI (XI (XI (XI
+    (XI (XO (XO (XI (XI (XI (XO (XO (XO (XI (XI (XO (XI (XI (XO (XO (XO (XI
+    (XO (XI (XO (XI (XO (XO XH)))))))))))))))))))))))))))))))) :: ((Npos (XI
+    (XO (XI (XO (XO (XI (XO (XI (XI (XI (XI (XI (XI (XO (XI (XI (XI (XO (XO
+    (XI (XO (XI (XO (XO (XI (XO (XI (XI (XO (XI (XI
+    XH)))))))))))))))))))))))))))))))) :: ((Npos (XI (XO (XI (XI (XO (XI (XO
+    (XO (XI (XO (XI (XO (XI (XO (XI (XO (XO (XI (XO (XI (XO (XI (XO (XI (XO
+    (XI (XI XH)))))))))))))))))))))))))))) :: ((Npos (XI (XI (XO (XI (XI (XI
+    (XO (XO (XI (XO (XO (XO (XO (XO (XO (XO (XI (XO (XI (XI (XO (XI (XI (XO
+    (XI (XI (XI (XI (XO (XI (XI XH)))))))))))))))))))))))))))))))) :: ((Npos
+    (XO (XO (XO (XI (XI (XI (XI (XI (XO (XO (XI (XI (XO (XO (XI (XO (XO (XI
+    (XO (XI (XI (XI (XO (XI (XO (XI (XI (XO (XO
+    XH)))))))))))))))))))))))))))))) :: ((Npos (XO (XO (XI (XO (XI (XI (XI
+    (XI (XO (XI (XO (XI (XO (XI (XI (XI (XI (XI (XI (XO (XI (XI (XO (XI (XI
+    (XO (XI (XO (XI (XI XH))))))))))))))))))))))))))))))) :: ((Npos (XO (XI
+    (XI (XO (XO (XI (XO (XO (XO (XI (XO (XI (XI (XI (XO (XO (XI (XI (XI (XO
+    (XO (XO (XO (XO (XO (XI (XI (XI (XI (XO (XO
+    XH)))))))))))))))))))))))))))))))) :: ((Npos (XI (XO (XO (XO (XO (XO (XI
+    (XI (XO (XO (XO (XO (XI (XO (XO (XI (XI (XI (XO (XI (XO (XO (XO (XI (XO
+    (XO (XI (XI (XO (XO (XO XH)))))))))))))))))))))))))))))))) :: ((Npos (XO
+    (XO (XO (XI (XI (XI (XI (XI (XI (XO (XO (XI (XO (XO (XO (XI (XO (XI (XO
+    (XI (XI (XO (XO (XO (XI (XO (XO (XI (XO
+    XH)))))))))))))))))))))))))))))) :: ((Npos (XO (XO (XI (XO (XO (XO (XI
+    (XI (XI (XO (XO (XI (XI (XO (XI (XO (XO (XI (XO (XI (XO (XI (XO (XI (XO
+    (XI (XO (XI (XO XH)))))))))))))))))))))))))))))) :: ((Npos (XO (XI (XI
+    (XO (XO (XO (XO (XO (XO (XO (XO (XI (XO (XI (XO (XI (XI (XO (XO (XI (XO
+    (XO (XI (XO (XO (XI (XO (XO (XO (XI (XO
+    XH)))))))))))))))))))))))))))))))) :: ((Npos (XO (XO (XI (XO (XI (XI (XI
+    (XO (XO (XI (XO (XO (XO (XO (XI (XI (XO (XO (XO (XO (XI (XI (XI (XO (XI
+    (XI (XO XH)))))))))))))))))))))))))))) :: ((Npos (XI (XI (XO (XO (XI (XO
+    (XO (XI (XI (XO (XO (XO (XO (XO (XI (XI (XI (XI (XO (XI (XI (XI (XO (XI
+    (XO (XI (XO (XO (XI (XO (XI XH)))))))))))))))))))))))))))))))) :: ((Npos
+    (XI (XO (XO (XO (XI (XI (XO (XI (XI (XO (XO (XI (XI (XO (XI (XO (XI (XI
+    (XO (XO (XI (XO (XI (XO (XI (XI (XO (XO (XO (XO (XI
+    XH)))))))))))))))))))))))))))))))) :: ((Npos (XI (XO (XI (XO (XO (XI (XI
+    (XO (XO (XI (XO (XO (XI (XO (XO (XO (XI (XO (XI (XO (XO (XI (XO (XI (XI
+    (XI (XI (XO (XI (XO XH))))))))))))))))))))))))))))))) :: ((Npos (XO (XI
+    (XI (XO (XO (XO (XO (XO (XO (XO (XO (XO (XO (XI (XI (XO (XO (XO (XI (XI
+    (XO (XO (XI (XO (XO (XO (XO (XO (XO (XI (XI
+    XH)))))))))))))))))))))))))))))))) :: ((Npos (XI (XI (XI (XI (XI (XO (XO
+    (XO (XO (XO (XO (XI (XO (XI (XO (XI (XO (XI (XO (XI (XO (XI (XO (XI (XO
+    (XO (XO (XO (XO (XO (XI XH)))))))))))))))))))))))))))))))) :: ((Npos (XI
+    (XI (XO (XI (XO (XI (XI (XO (XI (XO (XI (XO (XO (XO (XI (XO (XO (XO (XO
+    (XO (XI (XO (XI (XO (XI (XI XH))))))))))))))))))))))))))) :: ((Npos (XI
+    (XO (XI (XO (XI (XO (XI (XI (XO (XI (XI (XO (XI (XI (XI (XO (XI (XI (XO
+    (XO (XI (XI (XO (XI (XI (XO (XO (XI (XO (XI (XI
+    XH)))))))))))))))))))))))))))))))) :: ((Npos (XI (XI (XO (XO (XO (XI (XO
+    (XO (XO (XO (XI (XO (XO (XI (XO (XO (XO (XO (XO (XO (XO (XI (XO (XI (XO
+    (XI (XI (XI (XO XH)))))))))))))))))))))))))))))) :: ((Npos (XO (XI (XI
+    (XI (XI (XO (XI (XI (XO (XI (XI (XI (XI (XO (XO (XO (XO (XI (XI (XI (XO
+    (XI (XO (XO (XO (XI (XI (XO XH))))))))))))))))))))))))))))) :: ((Npos (XI
+    (XO (XI (XO (XI (XI (XI (XO (XI (XI (XO (XI (XO (XO (XI (XO (XI (XO (XI
+    (XI (XO (XO (XO (XI (XO (XI (XO (XO (XI (XI (XO
+    XH)))))))))))))))))))))))))))))))) :: ((Npos (XI (XI (XI (XI (XO (XO (XO
+    (XO (XO (XI (XO (XO (XO (XI (XI (XI (XO (XI (XI (XI (XO (XI (XI (XI (XI
+    (XO (XO (XI (XI (XI XH))))))))))))))))))))))))))))))) :: ((Npos (XO (XI
+    (XI (XO (XI (XI (XO (XO (XI (XO (XI (XI (XO (XI (XO (XO (XO (XI (XI (XI
+    (XO (XO (XO (XO (XI (XI (XO (XI (XO (XO (XO
+    XH)))))))))))))))))))))))))))))))) :: ((Npos (XI (XI (XI (XO (XO (XI (XO
+    (XI (XI (XI (XO (XO (XI (XO (XO (XO (XI (XO (XI (XI (XI (XI (XO (XI (XO
+    (XI (XI (XI (XO (XI (XI XH)))))))))))))))))))))))))))))))) :: ((Npos (XI
+    (XI (XO (XI (XI (XI (XI (XI (XI (XI (XO (XO (XO (XO (XO (XI (XI (XI (XI
+    (XO (XO (XO (XO (XO (XI (XO (XI XH)))))))))))))))))))))))))))) :: ((Npos
+    (XI (XI (XI (XI (XO (XO (XI (XI (XI (XI (XI (XO (XI (XO (XO (XI (XO (XI
+    (XO (XO (XI (XO (XO (XI (XI (XI (XO (XI (XO (XO (XI
+    XH)))))))))))))))))))))))))))))))) :: ((Npos (XO (XI (XI (XO (XO (XO (XO
+    (XI (XI (XI (XO (XO (XI (XO (XO (XO (XI (XI (XO (XI (XO (XO (XI (XI (XO
+    (XI (XO (XI (XI (XI (XI XH)))))))))))))))))))))))))))))))) :: ((Npos (XI
+    (XI (XI (XO (XO (XI (XI (XI (XO (XO (XI (XI (XI (XO (XO (XI (XI (XI (XO
+    (XO (XI (XO (XI (XO (XI (XI (XO (XO (XI
+    XH)))))))))))))))))))))))))))))) :: ((Npos (XI (XO (XI (XO (XI (XI (XO
+    (XO (XO (XI (XI (XO (XI (XO (XO (XO (XO (XO (XI (XO (XO (XI (XO (XO (XI
+    (XI (XO (XI (XI (XO (XI XH)))))))))))))))))))))))))))))))) :: ((Npos (XO
+    (XO (XO (XI (XO (XO (XO (XO (XO (XO (XO (XO (XI (XI (XO (XO (XI (XO (XO
+    (XO (XO (XI (XI (XI (XI (XO (XO (XI (XI (XO (XO
+    XH)))))))))))))))))))))))))))))))) :: ((Npos (XO (XO (XO (XO (XO (XO (XI
+    (XO (XI (XO (XO (XI (XI (XI (XI (XO (XO (XO (XI (XI (XO (XI (XI (XO (XI
+    (XO (XI (XO (XO (XO (XI XH)))))))))))))))))))))))))))))))) :: ((Npos (XI
+    (XI (XO (XO (XO (XI (XO (XO (XO (XO (XO (XI (XO (XO (XI (XI (XO (XI (XO
+    (XI (XI (XO (XO (XI (XO (XO (XO (XI (XO
+    XH)))))))))))))))))))))))))))))) :: ((Npos (XO (XI (XO (XO (XI (XI (XI
+    (XO (XI (XO (XO (XO (XO (XI (XO (XO (XI (XO (XO (XO (XI (XO (XI (XO (XO
+    (XI (XO (XO XH))))))))))))))))))))))))))))) :: ((Npos (XO (XO (XI (XO (XO
+    (XO (XO (XI (XO (XO (XI (XO (XI (XO (XI (XI (XI (XI (XI (XI (XI (XO (XO
+    (XO (XI (XO (XI (XO (XI (XI (XI
+    XH)))))))))))))))))))))))))))))))) :: ((Npos (XO (XI (XI (XI (XO (XO (XO
+    (XO (XI (XO (XO (XO (XO (XI (XI (XO (XI (XI (XI (XO (XO (XO (XO (XO (XI
+    (XO (XI (XO (XO (XO XH))))))))))))))))))))))))))))))) :: ((Npos (XO (XI
+    (XO (XI (XI (XO (XO (XO (XI (XO (XI (XO (XI (XI (XI (XI (XI (XO (XI (XO
+    (XO (XO (XI (XO (XO (XI (XO (XI (XO
+    XH)))))))))))))))))))))))))))))) :: ((Npos (XI (XO (XO (XO (XI (XO (XO
+    (XI (XI (XO (XI (XO (XI (XO (XO (XO (XI (XI (XI (XI (XI (XO (XI (XO (XO
+    (XI (XO (XO (XO (XI (XO XH)))))))))))))))))))))))))))))))) :: ((Npos (XI
+    (XI (XO (XI (XI (XI (XO (XO (XI (XI (XI (XO (XI (XI (XO (XI (XI (XI (XI
+    (XO (XO (XI (XI (XO (XO (XI (XO (XI (XI (XI (XI
+    XH)))))))))))))))))))))))))))))))) :: ((Npos (XI (XO (XO (XO (XI (XI (XI
+    (XI (XI (XO (XO (XI (XI (XO (XO (XI (XO (XI (XO (XI (XO (XO (XI (XO (XI
+    (XI (XO (XI (XI (XI (XI XH)))))))))))))))))))))))))))))))) :: ((Npos (XI
+    (XI (XO (XO (XO (XI (XI (XI (XI (XI (XO (XO (XI (XI (XI (XI (XO (XO (XI
+    (XO (XI (XO (XI (XO (XI (XO (XO (XO (XI (XI (XI
+    XH)))))))))))))))))))))))))))))))) :: ((Npos (XI (XO (XI (XO (XO (XO (XO
+    (XO (XO (XI (XO (XI (XI (XI (XI (XO (XI (XI (XO (XO (XI (XI (XO (XI (XO
+    (XO (XI (XO (XI (XI (XO XH)))))))))))))))))))))))))))))))) :: ((Npos (XO
+    (XI (XO (XO (XI (XO (XI (XO (XI (XO (XI (XO (XI (XO (XI (XO (XO (XI (XO
+    (XI (XO (XO (XI (XI (XI (XO (XO (XO (XI (XI
+    XH))))))))))))))))))))))))))))))) :: ((Npos (XI (XO (XO (XI (XO (XO (XI
+    (XO (XI (XI (XO (XO (XO (XO (XO (XO (XI (XO (XI (XO (XI (XI (XI (XO (XO
+    (XI (XI (XI XH))))))))))))))))))))))))))))) :: ((Npos (XO (XI (XO (XI (XI
+    (XI (XI (XO (XI (XO (XO (XO (XO (XI (XO (XI (XI (XO (XO (XI (XO (XI (XO
+    (XO (XI (XO (XO (XO (XI (XO XH))))))))))))))))))))))))))))))) :: ((Npos
+    (XI (XI (XO (XO (XI (XI (XI (XI (XO (XO (XO (XI (XI (XO (XO (XO (XO (XO
+    (XI (XO (XI (XI (XO (XI (XI (XI XH))))))))))))))))))))))))))) :: ((Npos
+    (XI (XI (XO (XO (XO (XO (XI (XO (XO (XO (XO (XI (XO (XI (XI (XI (XO (XO
+    (XI (XI (XO (XO (XI (XO (XI (XI (XO (XI (XI (XI (XO
+    XH)))))))))))))))))))))))))))))))) :: ((Npos (XI (XI (XO (XO (XI (XI (XO
+    (XO (XI (XI (XI (XI (XO (XI (XO (XI (XO (XO (XI (XI (XO (XI (XO (XO (XI
+    (XO (XO (XI (XI (XO (XO XH)))))))))))))))))))))))))))))))) :: ((Npos (XO
+    (XI (XI (XI (XO (XI (XO (XO (XO (XO (XO (XO (XO (XO (XO (XO (XO (XO (XI
+    (XI (XO (XO (XI (XI (XO (XO (XI (XO (XI (XI (XO
+    XH)))))))))))))))))))))))))))))))) :: ((Npos (XO (XI (XI (XO (XI (XI (XI
+    (XO (XI (XI (XI (XI (XI (XO (XI (XI (XO (XO (XI (XO (XI (XO (XI (XI (XO
+    (XI (XO (XO (XO (XI XH))))))))))))))))))))))))))))))) :: ((Npos (XO (XI
+    (XI (XI (XO (XI (XO (XO (XO (XO (XI (XI (XI (XO (XI (XI (XO (XI (XI (XI
+    (XO (XO (XO (XI (XI (XI (XI (XO (XI
+    XH)))))))))))))))))))))))))))))) :: ((Npos (XI (XO (XI (XI (XI (XI (XI
+    (XO (XO (XO (XO (XI (XI (XO (XI (XO (XI (XI (XI (XO (XO (XI (XO (XO (XO
+    (XI (XI (XO (XI (XI XH))))))))))))))))))))))))))))))) :: ((Npos (XI (XI
+    (XO (XO (XI (XO (XO (XO (XI (XI (XO (XI (XI (XI (XO (XO (XO (XI (XI (XI
+    (XO (XO (XI (XI (XI (XO (XO (XO (XI (XI (XO
+    XH)))))))))))))))))))))))))))))))) :: ((Npos (XO (XI (XO (XO (XO (XI (XO
+    (XO (XO (XI (XO (XI (XO (XI (XI (XO (XI (XO (XI (XO (XO (XO (XI (XO (XI
+    (XI (XO (XO (XI (XI (XO XH)))))))))))))))))))))))))))))))) :: ((Npos (XO
+    (XO (XO (XO (XO (XO (XI (XO (XI (XI (XI (XO (XO (XI (XI (XI (XI (XO (XI
+    (XO (XO (XO (XO (XI (XI (XO (XI (XI (XO (XO (XI
+    XH)))))))))))))))))))))))))))))))) :: ((Npos (XO (XI (XO (XO (XO (XO (XI
+    (XO (XI (XO (XO (XO (XI (XI (XO (XO (XI (XO (XO (XO (XO (XO (XI (XI (XO
+    (XO (XO (XI (XO XH)))))))))))))))))))))))))))))) :: ((Npos (XI (XO (XO
+    (XI (XO (XO (XI (XI (XI (XO (XI (XI (XI (XO (XI (XI (XI (XI (XO (XO (XO
+    (XI (XI (XO (XO (XI (XI (XI (XO
+    XH)))))))))))))))))))))))))))))) :: ((Npos (XI (XO (XI (XI (XO (XI (XI
+    (XO (XO (XO (XI (XO (XI (XI (XI (XI (XO (XO (XI (XO (XO (XI (XI (XO (XI
+    (XI (XO (XO (XI (XO XH))))))))))))))))))))))))))))))) :: ((Npos (XO (XO
+    (XI (XI (XI (XI (XO (XI (XI (XI (XO (XO (XI (XI (XI (XI (XO (XO (XO (XI
+    (XI (XO (XO (XI (XI (XI (XO (XO (XI (XI
+    XH))))))))))))))))))))))))))))))) :: ((Npos (XI (XI (XO (XO (XO (XO (XO
+    (XI (XO (XI (XI (XI (XO (XO (XO (XI (XO (XO (XI (XI (XI (XO (XI (XI (XO
+    (XO (XI (XO (XO (XI XH))))))))))))))))))))))))))))))) :: ((Npos (XO (XO
+    (XO (XO (XO (XO (XI (XI (XI (XI (XI (XI (XO (XO (XO (XI (XI (XO (XO (XO
+    (XI (XO (XO (XI (XO (XI (XI (XO (XO (XI (XI
+    XH)))))))))))))))))))))))))))))))) :: ((Npos (XO (XI (XO (XO (XI (XI (XI
+    (XO (XI (XO (XI (XO (XO (XO (XI (XO (XI (XO (XO (XI (XO (XO (XI (XI (XO
+    (XO (XI (XO (XI (XO XH))))))))))))))))))))))))))))))) :: ((Npos (XO (XI
+    (XO (XI (XI (XO (XO (XO (XO (XO (XI (XO (XO (XI (XI (XI (XI (XO (XO (XI
+    (XI (XO (XI (XO (XI (XI (XO (XO (XO
+    XH)))))))))))))))))))))))))))))) :: ((Npos (XI (XO (XO (XI (XO (XI (XO
+    (XI (XI (XO (XI (XI (XI (XO (XI (XI (XO (XI (XI (XI (XI (XI (XI (XI (XI
+    (XI (XI (XI (XO (XI XH))))))))))))))))))))))))))))))) :: ((Npos (XI (XO
+    (XI (XO (XI (XO (XI (XI (XI (XI (XO (XI (XO (XI (XO (XO (XO (XO (XI (XO
+    (XI (XO (XO (XI (XO (XI (XI (XO (XI (XO (XO
+    XH)))))))))))))))))))))))))))))))) :: ((Npos (XI (XI (XO (XI (XO (XO (XO
+    (XI (XO (XI (XI (XI (XO (XI (XI (XI (XI (XO (XI (XI (XI (XO (XI (XI (XO
+    (XI (XI (XI (XI (XO XH))))))))))))))))))))))))))))))) :: ((Npos (XO (XI
+    (XI (XO (XO (XO (XO (XO (XI (XO (XI (XO (XI (XI (XI (XI (XI (XI (XI (XO
+    (XI (XO (XO (XI (XI (XO (XI (XI (XO (XI (XI
+    XH)))))))))))))))))))))))))))))))) :: ((Npos (XI (XO (XO (XO (XI (XO (XO
+    (XI (XO (XO (XO (XI (XO (XO (XI (XI (XI (XI (XO (XI (XO (XO (XI (XO (XO
+    (XO (XI (XI (XO (XI (XI XH)))))))))))))))))))))))))))))))) :: ((Npos (XI
+    (XI (XI (XI (XI (XI (XI (XI (XO (XO (XO (XI (XO (XI (XI (XI (XO (XI (XO
+    (XO (XO (XI (XO (XI (XO (XO (XO (XO (XO (XI (XO
+    XH)))))))))))))))))))))))))))))))) :: ((Npos (XI (XI (XO (XI (XO (XI (XI
+    (XO (XI (XO (XI (XO (XI (XO (XI (XO (XI (XO (XO (XO (XO (XO (XI (XI (XI
+    (XI (XO (XO (XI (XI XH))))))))))))))))))))))))))))))) :: ((Npos (XI (XI
+    (XI (XI (XI (XO (XO (XI (XI (XO (XO (XI (XO (XI (XO (XO (XI (XI (XI (XI
+    (XO (XO (XI (XO (XI (XO (XO (XI XH))))))))))))))))))))))))))))) :: ((Npos
+    (XI (XI (XO (XO (XO (XO (XI (XI (XO (XO (XI (XO (XI (XI (XO (XI (XO (XO
+    (XI (XI (XO (XO (XI (XO (XO (XO (XO (XO (XI (XO
+    XH))))))))))))))))))))))))))))))) :: ((Npos (XO (XO (XI (XO (XO (XO (XI
+    (XO (XI (XI (XO (XO (XI (XI (XI (XO (XO (XO (XO (XI (XI (XO (XO (XO (XI
+    (XI (XI (XI (XI (XO (XO XH)))))))))))))))))))))))))))))))) :: ((Npos (XO
+    (XI (XO (XO (XI (XO (XO (XO (XO (XO (XI (XO (XO (XI (XI (XO (XO (XI (XO
+    (XI (XI (XO (XO (XO (XI (XO (XO (XO (XI (XO (XO
+    XH)))))))))))))))))))))))))))))))) :: ((Npos (XI (XI (XO (XI (XI (XO (XO
+    (XI (XI (XI (XI (XI (XO (XO (XO (XI (XI (XO (XO (XO (XI (XI (XI (XO (XI
+    (XI (XI (XO (XI (XO (XO XH)))))))))))))))))))))))))))))))) :: ((Npos (XO
+    (XO (XO (XO (XI (XO (XO (XI (XO (XI (XO (XI (XI (XI (XO (XO (XI (XI (XI
+    (XI (XI (XI (XI (XO (XO (XI (XO (XO (XI (XO
+    XH))))))))))))))))))))))))))))))) :: ((Npos (XI (XI (XO (XI (XI (XO (XO
+    (XO (XO (XO (XO (XI (XI (XO (XI (XI (XO (XO (XO (XI (XO (XO (XI (XI (XI
+    (XO (XI (XO (XI (XI (XI XH)))))))))))))))))))))))))))))))) :: ((Npos (XO
+    (XI (XO (XI (XO (XO (XI (XI (XO (XO (XI (XI (XI (XO (XI (XO (XI (XO (XO
+    (XO (XI (XO (XI (XI (XO (XI (XO (XI (XI (XO
+    XH))))))))))))))))))))))))))))))) :: ((Npos (XI (XO (XO (XO (XO (XI (XO
+    (XI (XI (XO (XI (XI (XO (XO (XO (XO (XO (XO (XO (XO (XI (XI (XI (XO (XI
+    (XO (XO (XO (XO (XI (XO XH)))))))))))))))))))))))))))))))) :: ((Npos (XI
+    (XO (XO (XO (XI (XO (XO (XI (XI (XO (XI (XO (XI (XI (XI (XO (XO (XO (XI
+    (XO (XO (XI (XI (XO (XO (XI (XI (XI (XI
+    XH)))))))))))))))))))))))))))))) :: ((Npos (XO (XO (XO (XO (XI (XI (XO
+    (XI (XO (XO (XI (XI (XI (XI (XI (XI (XI (XI (XI (XO (XO (XI (XI (XI (XO
+    (XO (XI (XO (XO (XO (XO XH)))))))))))))))))))))))))))))))) :: ((Npos (XO
+    (XO (XI (XO (XI (XI (XO (XO (XO (XI (XO (XI (XO (XO (XI (XO (XO (XO (XI
+    (XO (XI (XO (XI (XI (XO (XI (XO (XI (XO (XO
+    XH))))))))))))))))))))))))))))))) :: ((Npos (XI (XO (XO (XO (XI (XI (XI
+    (XO (XI (XO (XI (XO (XO (XI (XI (XO (XI (XI (XI (XO (XO (XI (XO (XO (XI
+    (XI (XO (XI (XI (XI (XI XH)))))))))))))))))))))))))))))))) :: ((Npos (XI
+    (XI (XO (XI (XI (XO (XO (XI (XO (XO (XI (XI (XO (XO (XI (XI (XI (XO (XI
+    (XI (XO (XI (XO (XI (XO (XI (XO (XI (XI (XO
+    XH))))))))))))))))))))))))))))))) :: ((Npos (XI (XO (XO (XO (XO (XI (XO
+    (XO (XI (XO (XO (XI (XI (XO (XI (XI (XO (XI (XI (XI (XO (XO (XI (XO (XI
+    (XO (XI (XO (XI (XI (XO XH)))))))))))))))))))))))))))))))) :: ((Npos (XO
+    (XI (XI (XI (XI (XI (XO (XI (XO (XI (XI (XI (XO (XI (XO (XI (XO (XI (XO
+    (XI (XO (XO (XO (XO (XI (XO (XO (XI
+    XH))))))))))))))))))))))))))))) :: ((Npos (XI (XI (XO (XO (XO (XI (XI (XO
+    (XI (XI (XO (XI (XO (XI (XI (XI (XO (XI (XO (XO (XO (XI (XO
+    XH)))))))))))))))))))))))) :: ((Npos (XO (XO (XO (XI (XO (XO (XO (XO (XI
+    (XO (XO (XI (XO (XO (XI (XI (XI (XI (XO (XI (XI (XI (XO (XI (XO (XI (XI
+    (XI XH))))))))))))))))))))))))))))) :: ((Npos (XO (XI (XI (XI (XO (XI (XI
+    (XI (XI (XO (XI (XI (XO (XO (XI (XO (XI (XO (XI (XO (XI (XO (XO (XO (XO
+    (XI (XI (XI (XO (XO (XI XH)))))))))))))))))))))))))))))))) :: ((Npos (XO
+    (XI (XO (XI (XI (XO (XI (XI (XO (XI (XI (XI (XI (XO (XI (XI (XO (XO (XI
+    (XI (XI (XO (XO (XO (XO (XI (XI (XI (XI (XI
+    XH))))))))))))))))))))))))))))))) :: ((Npos (XO (XI (XI (XI (XI (XO (XI
+    (XO (XI (XI (XI (XI (XO (XO (XI (XI (XI (XO (XO (XO (XO (XI (XO (XO (XO
+    (XI (XO (XO (XO (XI (XO XH)))))))))))))))))))))))))))))))) :: ((Npos (XO
+    (XI (XO (XI (XI (XO (XI (XI (XO (XO (XO (XI (XO (XO (XI (XI (XI (XO (XI
+    (XO (XO (XO (XI (XO (XI (XO (XO (XO (XO (XO (XI
+    XH)))))))))))))))))))))))))))))))) :: ((Npos (XO (XO (XI (XI (XI (XO (XI
+    (XI (XO (XO (XI (XI (XI (XI (XO (XI (XI (XI (XO (XI (XO (XI (XI (XI (XO
+    (XI (XO (XO (XI XH)))))))))))))))))))))))))))))) :: ((Npos (XI (XI (XO
+    (XO (XO (XI (XI (XI (XO (XO (XO (XI (XI (XO (XI (XI (XI (XI (XO (XO (XO
+    (XI (XI (XO (XI (XO (XO (XI XH))))))))))))))))))))))))))))) :: ((Npos (XO
+    (XI (XI (XI (XI (XI (XO (XI (XO (XI (XI (XI (XO (XO (XI (XI (XI (XI (XO
+    (XI (XO (XI (XI (XO (XI (XI (XO (XO
+    XH))))))))))))))))))))))))))))) :: ((Npos (XO (XO (XI (XI (XI (XO (XI (XO
+    (XO (XI (XI (XO (XO (XO (XI (XI (XI (XO (XO (XI (XI (XO (XO (XO (XI (XI
+    (XO (XI (XO (XI XH))))))))))))))))))))))))))))))) :: ((Npos (XI (XI (XO
+    (XI (XI (XO (XI (XO (XI (XI (XI (XI (XI (XI (XI (XO (XO (XI (XO (XI (XO
+    (XO (XI (XI (XO (XI (XO (XO (XI (XO (XO
+    XH)))))))))))))))))))))))))))))))) :: ((Npos (XO (XI (XO (XI (XI (XO (XI
+    (XI (XO (XO (XI (XO (XO (XO (XI (XI (XI (XO (XO (XO (XI (XO (XI (XI (XI
+    (XO (XI (XO (XI (XI XH))))))))))))))))))))))))))))))) :: ((Npos (XI (XO
+    (XO (XO (XI (XI (XO (XI (XI (XI (XI (XI (XI (XO (XO (XI (XO (XI (XI (XO
+    (XI (XI (XI (XI (XI (XI (XO (XO (XI (XO
+    XH))))))))))))))))))))))))))))))) :: ((Npos (XO (XO (XO (XO (XI (XO (XO
+    (XI (XI (XO (XI (XO (XO (XO (XI (XO (XO (XI (XI (XI (XI (XI (XO (XO (XI
+    (XO (XO (XI (XO (XO XH))))))))))))))))))))))))))))))) :: ((Npos (XI (XI
+    (XO (XO (XI (XO (XO (XI (XI (XO (XO (XO (XO (XI (XI (XI (XI (XI (XO (XI
+    (XI (XI (XI (XO (XI (XO (XO (XI (XO (XI (XI
+    XH)))))))))))))))))))))))))))))))) :: ((Npos (XI (XO (XI (XO (XO (XO (XI
+    (XI (XO (XI (XI (XO (XI (XI (XI (XI (XI (XI (XO (XI (XI (XI (XO (XI (XI
+    (XI (XI XH)))))))))))))))))))))))))))) :: ((Npos (XI (XO (XO (XI (XI (XO
+    (XO (XO (XI (XI (XI (XO (XO (XO (XI (XO (XI (XO (XO (XI (XI (XO (XO (XI
+    (XO (XI (XO (XI (XI (XO (XO XH)))))))))))))))))))))))))))))))) :: ((Npos
+    (XI (XO (XI (XO (XO (XO (XI (XI (XI (XI (XI (XO (XO (XI (XI (XO (XO (XI
+    (XO (XO (XI (XO (XI (XO (XI (XI (XO (XO (XI (XO (XO
+    XH)))))))))))))))))))))))))))))))) :: ((Npos (XI (XI (XI (XI (XI (XI (XO
+    (XO (XI (XO (XI (XI (XI (XO (XI (XI (XO (XO (XO (XI (XO (XO (XI (XI (XI
+    (XI (XI (XI (XI (XI (XI XH)))))))))))))))))))))))))))))))) :: ((Npos (XO
+    (XO (XI (XI (XO (XI (XI (XI (XI (XI (XI (XI (XO (XO (XI (XO (XO (XI (XO
+    (XI (XO (XO (XI (XI (XO (XI (XI (XO (XO
+    XH)))))))))))))))))))))))))))))) :: ((Npos (XI (XI (XO (XI (XO (XO (XO
+    (XI (XO (XO (XO (XO (XO (XI (XO (XO (XO (XI (XI (XO (XO (XO (XO (XO (XI
+    (XI (XI (XO (XO (XO XH))))))))))))))))))))))))))))))) :: ((Npos (XI (XI
+    (XI (XO (XI (XI (XO (XO (XO (XI (XI (XO (XI (XO (XI (XI (XO (XI (XI (XO
+    (XI (XO (XO (XI (XI (XO (XI (XO (XI (XI (XO
+    XH)))))))))))))))))))))))))))))))) :: ((Npos (XI (XI (XO (XO (XO (XO (XO
+    (XI (XO (XO (XI (XO (XO (XO (XI (XO (XO (XO (XI (XO (XO (XO (XO (XO (XI
+    (XI (XO (XO (XI (XO (XO XH)))))))))))))))))))))))))))))))) :: ((Npos (XO
+    (XI (XO (XI (XO (XI (XI (XO (XO (XI (XI (XI (XI (XO (XO (XI (XO (XO (XO
+    (XO (XO (XO (XI (XI (XI (XI (XI (XO (XI (XO (XO
+    XH)))))))))))))))))))))))))))))))) :: ((Npos (XO (XO (XI (XO (XI (XI (XO
+    (XO (XO (XI (XI (XO (XI (XO (XI (XO (XO (XO (XI (XO (XO (XO (XI (XI (XI
+    (XO (XO (XI (XI XH)))))))))))))))))))))))))))))) :: ((Npos (XO (XO (XO
+    (XI (XI (XI (XO (XO (XI (XO (XO (XO (XI (XO (XI (XI (XO (XO (XI (XI (XI
+    (XO (XI (XO (XO (XO (XO (XI (XI (XI
+    XH))))))))))))))))))))))))))))))) :: ((Npos (XI (XO (XO (XO (XO (XO (XO
+    (XO (XO (XI (XI (XO (XI (XO (XO (XO (XO (XO (XO (XO (XI (XI (XO (XO (XI
+    (XI (XI (XO (XO (XO (XO XH)))))))))))))))))))))))))))))))) :: ((Npos (XO
+    (XO (XI (XI (XO (XI (XO (XO (XO (XI (XO (XI (XO (XO (XI (XI (XO (XI (XO
+    (XO (XI (XI (XO (XI (XI (XO (XI (XO (XO (XO
+    XH))))))))))))))))))))))))))))))) :: ((Npos (XI (XO (XO (XI (XO (XO (XO
+    (XO (XO (XI (XO (XI (XI (XI (XO (XI (XO (XI (XO (XI (XI (XI (XO (XI (XI
+    (XO (XO (XO (XO (XO (XI XH)))))))))))))))))))))))))))))))) :: ((Npos (XI
+    (XO (XO (XO (XO (XI (XO (XI (XO (XO (XI (XO (XI (XI (XO (XO (XO (XI (XI
+    (XI (XI (XI (XO (XO (XO (XO (XI (XI (XO (XI (XI
+    XH)))))))))))))))))))))))))))))))) :: ((Npos (XI (XO (XO (XI (XO (XI (XO
+    (XI (XI (XO (XI (XO (XO (XO (XO (XO (XO (XI (XO (XO (XO (XI (XO (XI (XO
+    (XO (XO (XI (XI (XO (XO XH)))))))))))))))))))))))))))))))) :: ((Npos (XO
+    (XO (XI (XI (XI (XI (XO (XO (XO (XI (XO (XI (XO (XO (XO (XI (XI (XI (XI
+    (XI (XO (XO (XI (XO (XO (XI (XI (XO (XI
+    XH)))))))))))))))))))))))))))))) :: ((Npos (XI (XO (XO (XI (XO (XI (XO
+    (XI (XO (XO (XO (XI (XO (XO (XO (XI (XI (XO (XO (XI (XI (XO (XI (XO (XI
+    (XO (XI (XI (XO XH)))))))))))))))))))))))))))))) :: ((Npos (XI (XO (XI
+    (XO (XI (XO (XO (XO (XO (XO (XI (XO (XI (XO (XI (XO (XI (XI (XI (XI (XI
+    (XI (XO (XI (XO (XO (XI (XO (XI (XO (XI
+    XH)))))))))))))))))))))))))))))))) :: ((Npos (XI (XO (XO (XO (XO (XI (XO
+    (XO (XI (XO (XI (XO (XI (XO (XO (XO (XO (XO (XI (XI (XO (XI (XO (XO (XO
+    (XO (XO (XO (XO (XI (XO XH)))))))))))))))))))))))))))))))) :: ((Npos (XI
+    (XO (XO (XI (XO (XO (XI (XI (XI (XI (XO (XO (XO (XI (XO (XI (XO (XI (XO
+    (XO (XO (XO (XI (XI (XO (XI (XI (XO
+    XH))))))))))))))))))))))))))))) :: ((Npos (XO (XO (XI (XO (XI (XI (XO (XO
+    (XI (XI (XO (XI (XI (XO (XI (XI (XI (XI (XO (XI (XO (XO (XI (XI (XI (XI
+    (XO (XI (XI (XO (XO XH)))))))))))))))))))))))))))))))) :: ((Npos (XO (XI
+    (XO (XO (XI (XO (XI (XO (XO (XO (XO (XI (XI (XI (XO (XI (XO (XI (XO (XO
+    (XI (XO (XO (XI (XO (XO (XI (XO (XO (XI (XO
+    XH)))))))))))))))))))))))))))))))) :: ((Npos (XI (XI (XI (XI (XO (XO (XI
+    (XI (XI (XO (XI (XI (XI (XI (XI (XI (XO (XI (XO (XO (XI (XO (XI (XI (XO
+    (XI (XI (XO (XI (XO XH))))))))))))))))))))))))))))))) :: ((Npos (XI (XI
+    (XO (XI (XI (XO (XI (XI (XI (XI (XO (XI (XI (XO (XO (XO (XI (XO (XI (XI
+    (XO (XI (XO (XI (XO (XO (XI (XO (XI
+    XH)))))))))))))))))))))))))))))) :: ((Npos (XO (XI (XI (XI (XI (XI (XI
+    (XI (XO (XO (XO (XI (XI (XI (XI (XI (XO (XO (XI (XO (XO (XI (XI (XO (XO
+    (XO (XI (XO (XO (XO (XI XH)))))))))))))))))))))))))))))))) :: ((Npos (XI
+    (XI (XI (XI (XO (XI (XO (XO (XI (XI (XO (XI (XI (XI (XO (XO (XO (XO (XI
+    (XO (XO (XI (XO (XI (XI (XI (XI (XI (XI (XO
+    XH))))))))))))))))))))))))))))))) :: ((Npos (XO (XI (XI (XO (XO (XI (XO
+    (XO (XO (XI (XI (XO (XO (XI (XI (XO (XI (XO (XI (XO (XI (XO (XI (XO (XO
+    (XI (XI (XO (XI (XI XH))))))))))))))))))))))))))))))) :: ((Npos (XI (XI
+    (XI (XI (XO (XI (XO (XO (XO (XI (XI (XI (XI (XO (XO (XO (XI (XO (XO (XI
+    (XI (XI (XI (XO (XO (XO (XI (XI (XI
+    XH)))))))))))))))))))))))))))))) :: ((Npos (XI (XI (XI (XO (XI (XI (XI
+    (XO (XI (XO (XI (XO (XI (XO (XO (XI (XI (XI (XO (XI (XO (XI (XI (XO (XO
+    (XI (XO (XO (XO (XI (XO XH)))))))))))))))))))))))))))))))) :: ((Npos (XI
+    (XI (XO (XO (XI (XO (XO (XO (XI (XO (XO (XO (XI (XO (XI (XO (XO (XI (XO
+    (XI (XO (XO (XO (XI (XO (XI (XI (XO (XI (XI (XO
+    XH)))))))))))))))))))))))))))))))) :: ((Npos (XI (XO (XI (XI (XI (XI (XI
+    (XO (XI (XO (XO (XI (XI (XO (XO (XI (XI (XI (XI (XI (XO (XI (XO (XI (XI
+    (XO (XO (XI (XI (XI (XO XH)))))))))))))))))))))))))))))))) :: ((Npos (XO
+    (XO (XO (XO (XI (XI (XO (XO (XI (XO (XI (XI (XI (XI (XO (XI (XO (XI (XI
+    (XO (XO (XO (XI (XO (XO (XO (XO XH)))))))))))))))))))))))))))) :: ((Npos
+    (XI (XO (XI (XI (XO (XO (XI (XI (XI (XI (XO (XO (XO (XI (XO (XI (XO (XI
+    (XO (XI (XI (XI (XI (XI (XI (XI (XI (XO (XI (XI (XI
+    XH)))))))))))))))))))))))))))))))) :: ((Npos (XO (XI (XO (XI (XO (XI (XI
+    (XO (XO (XO (XO (XO (XO (XI (XI (XO (XI (XO (XI (XO (XO (XO (XO (XO (XO
+    (XI (XI (XO (XO (XO (XI XH)))))))))))))))))))))))))))))))) :: ((Npos (XO
+    (XI (XO (XO (XI (XO (XO (XO (XI (XI (XI (XI (XO (XI (XO (XO (XO (XI (XO
+    (XO (XI (XO (XI (XO (XI (XI (XO (XI (XI (XI
+    XH))))))))))))))))))))))))))))))) :: ((Npos (XO (XI (XI (XO (XO (XO (XO
+    (XO (XO (XI (XI (XI (XI (XI (XI (XI (XI (XO (XI (XO (XI (XI (XI (XI (XI
+    (XO (XI (XO (XO (XO (XO XH)))))))))))))))))))))))))))))))) :: ((Npos (XO
+    (XI (XO (XI (XI (XI (XO (XI (XI (XI (XI (XI (XI (XI (XI (XO (XO (XO (XO
+    (XI (XI (XI (XO (XI (XO (XI (XO (XI (XI (XO (XI
+    XH)))))))))))))))))))))))))))))))) :: ((Npos (XI (XI (XI (XI (XO (XI (XI
+    (XO (XO (XO (XI (XO (XI (XO (XI (XI (XO (XI (XO (XO (XO (XI (XI (XI (XI
+    (XO (XI (XI (XI (XO XH))))))))))))))))))))))))))))))) :: ((Npos (XO (XO
+    (XO (XI (XO (XI (XO (XI (XI (XI (XO (XI (XI (XI (XO (XI (XO (XI (XO (XI
+    (XI (XO (XI (XO (XI (XO (XO (XO (XI
+    XH)))))))))))))))))))))))))))))) :: ((Npos (XI (XI (XO (XI (XI (XO (XI
+    (XO (XO (XI (XO (XO (XI (XO (XI (XI (XI (XO (XO (XO (XI (XI (XI (XO (XO
+    (XI (XI (XI (XI (XO (XI XH)))))))))))))))))))))))))))))))) :: ((Npos (XO
+    (XO (XI (XO (XI (XO (XI (XI (XO (XI (XO (XI (XI (XI (XI (XI (XI (XI (XI
+    (XO (XI (XI (XI (XI (XI (XI (XO (XI (XO (XO (XI
+    XH)))))))))))))))))))))))))))))))) :: ((Npos (XI (XO (XO (XO (XO (XO (XI
+    (XI (XI (XO (XI (XI (XO (XI (XO (XI (XO (XO (XI (XI (XO (XI (XI (XI (XO
+    (XO (XO (XI (XO (XO (XI XH)))))))))))))))))))))))))))))))) :: ((Npos (XI
+    (XI (XO (XO (XO (XI (XI (XO (XO (XI (XI (XO (XO (XO (XI (XO (XO (XO (XO
+    (XO (XI (XO (XI (XI (XO (XI (XI (XI (XO (XI (XI
+    XH)))))))))))))))))))))))))))))))) :: ((Npos (XO (XO (XI (XI (XI (XI (XI
+    (XO (XO (XI (XO (XI (XO (XI (XI (XI (XI (XO (XO (XI (XO (XI (XI (XO (XO
+    (XO (XO (XO (XO XH)))))))))))))))))))))))))))))) :: ((Npos (XI (XI (XO
+    (XI (XO (XO (XO (XI (XO (XI (XO (XO (XI (XI (XI (XO (XO (XO (XO (XI (XI
+    (XO (XO (XO (XO (XI (XO (XI (XO (XO
+    XH))))))))))))))))))))))))))))))) :: ((Npos (XO (XI (XO (XO (XO (XI (XO
+    (XO (XI (XO (XI (XO (XI (XI (XO (XO (XO (XI (XI (XO (XO (XI (XO (XO (XO
+    (XI (XO (XI (XO (XI (XI XH)))))))))))))))))))))))))))))))) :: ((Npos (XI
+    (XO (XI (XO (XI (XI (XI (XI (XI (XI (XO (XI (XO (XO (XO (XO (XO (XI (XO
+    (XO (XO (XI (XI (XO (XO (XI (XI (XO (XO (XI (XO
+    XH)))))))))))))))))))))))))))))))) :: ((Npos (XO (XO (XO (XI (XI (XO (XI
+    (XI (XO (XO (XI (XO (XI (XO (XO (XO (XO (XO (XI (XO (XO (XO (XI (XO (XI
+    (XI (XO (XO (XI (XI (XI XH)))))))))))))))))))))))))))))))) :: ((Npos (XI
+    (XO (XI (XO (XI (XO (XO (XI (XI (XI (XI (XI (XO (XI (XO (XI (XO (XO (XI
+    (XI (XO (XI (XI (XI (XI (XI (XI (XO (XO (XO (XO
+    XH)))))))))))))))))))))))))))))))) :: ((Npos (XI (XO (XO (XI (XO (XO (XI
+    (XI (XI (XO (XI (XI (XO (XI (XI (XO (XI (XO (XO (XI (XO (XO (XI (XI (XO
+    (XO (XI (XO (XI XH)))))))))))))))))))))))))))))) :: ((Npos (XI (XO (XO
+    (XO (XO (XO (XO (XO (XO (XO (XO (XO (XI (XO (XI (XO (XO (XI (XI (XI (XI
+    (XI (XO (XI (XO (XO (XI (XO (XO
+    XH)))))))))))))))))))))))))))))) :: ((Npos (XO (XO (XI (XI (XO (XO (XI
+    (XI (XI (XO (XO (XO (XI (XI (XO (XO (XO (XI (XO (XO (XI (XO (XO (XO (XO
+    (XI (XI (XI (XI (XI (XO XH)))))))))))))))))))))))))))))))) :: ((Npos (XO
+    (XI (XI (XO (XO (XI (XI (XO (XO (XO (XI (XO (XO (XO (XI (XO (XI (XO (XO
+    (XI (XI (XI (XO (XI (XI (XO (XI (XO (XO (XI (XO
+    XH)))))))))))))))))))))))))))))))) :: ((Npos (XI (XI (XI (XI (XO (XI (XI
+    (XI (XO (XI (XO (XI (XO (XO (XI (XI (XI (XO (XO (XI (XI (XI (XI (XO (XI
+    (XI (XO (XI (XO (XO (XO XH)))))))))))))))))))))))))))))))) :: ((Npos (XO
+    (XO (XO (XI (XI (XO (XO (XO (XI (XI (XO (XO (XI (XO (XI (XO (XI (XI (XI
+    (XO (XO (XO (XO (XO (XO (XO (XO (XI (XO (XO
+    XH))))))))))))))))))))))))))))))) :: ((Npos (XI (XO (XI (XO (XI (XO (XI
+    (XO (XO (XO (XI (XO (XI (XI (XO (XO (XO (XI (XI (XO (XO (XI (XI (XO (XI
+    (XI (XI XH)))))))))))))))))))))))))))) :: ((Npos (XO (XO (XO (XO (XO (XO
+    (XI (XI (XI (XI (XO (XI (XO (XI (XO (XI (XO (XI (XO (XO (XO (XO (XI (XI
+    (XO (XO (XI (XO (XO (XI (XI XH)))))))))))))))))))))))))))))))) :: ((Npos
+    (XO (XI (XO (XI (XO (XI (XO (XI (XI (XO (XO (XO (XO (XI (XO (XO (XO (XI
+    (XI (XI (XO (XI (XO (XI (XI (XI (XO (XI (XI (XI
+    XH))))))))))))))))))))))))))))))) :: ((Npos (XO (XO (XI (XI (XI (XO (XI
+    (XO (XI (XI (XO (XO (XO (XO (XO (XI (XO (XO (XI (XO (XI (XO (XO (XI (XI
+    (XI (XI (XI (XI (XI (XO XH)))))))))))))))))))))))))))))))) :: ((Npos (XO
+    (XI (XI (XI (XI (XO (XO (XI (XI (XO (XI (XI (XI (XI (XO (XO (XI (XO (XI
+    (XI (XO (XI (XI (XI (XO (XO (XI (XO (XO (XO (XI
+    XH)))))))))))))))))))))))))))))))) :: ((Npos (XO (XO (XI (XO (XO (XO (XI
+    (XI (XO (XO (XI (XO (XO (XI (XO (XO (XO (XO (XO (XO (XO (XO (XO (XI (XO
+    (XO (XI (XO (XI XH)))))))))))))))))))))))))))))) :: ((Npos (XI (XO (XI
+    (XO (XO (XI (XO (XI (XI (XO (XO (XO (XI (XI (XI (XO (XO (XO (XI (XI (XO
+    (XO (XI (XI (XO (XO (XO (XO (XI (XO
+    XH))))))))))))))))))))))))))))))) :: ((Npos (XO (XO (XI (XI (XI (XI (XI
+    (XI (XI (XO (XO (XI (XI (XO (XO (XO (XO (XI (XO (XI (XI (XO (XI (XO (XO
+    (XO (XI XH)))))))))))))))))))))))))))) :: ((Npos (XO (XO (XO (XO (XI (XI
+    (XI (XO (XO (XI (XI (XO (XO (XO (XO (XI (XO (XI (XO (XI (XO (XO (XI (XO
+    (XO (XO (XO (XO (XI (XO (XO XH)))))))))))))))))))))))))))))))) :: ((Npos
+    (XO (XO (XO (XI (XO (XI (XI (XO (XO (XO (XI (XI (XI (XI (XO (XI (XO (XO
+    (XI (XO (XO (XI (XI (XO (XI (XO (XI (XO
+    XH))))))))))))))))))))))))))))) :: ((Npos (XO (XO (XO (XI (XO (XO (XO (XO
+    (XI (XO (XO (XI (XI (XI (XI (XI (XI (XO (XO (XI (XO (XI (XI (XO (XO (XO
+    (XO (XO (XO (XI XH))))))))))))))))))))))))))))))) :: ((Npos (XO (XI (XI
+    (XO (XO (XI (XO (XI (XO (XI (XO (XI (XI (XI (XO (XO (XI (XO (XO (XI (XO
+    (XO (XO (XO (XI (XI (XO (XO (XO (XO (XI
+    XH)))))))))))))))))))))))))))))))) :: ((Npos (XI (XI (XO (XO (XO (XI (XI
+    (XI (XO (XI (XO (XI (XO (XI (XO (XI (XI (XO (XO (XO (XI (XO (XO (XI (XI
+    (XO (XO (XI (XO (XI XH))))))))))))))))))))))))))))))) :: ((Npos (XO (XI
+    (XO (XI (XI (XI (XI (XI (XI (XO (XO (XI (XI (XO (XO (XO (XI (XI (XI (XO
+    (XO (XI (XI (XO (XI (XO (XO (XI (XO (XI (XO
+    XH)))))))))))))))))))))))))))))))) :: ((Npos (XO (XO (XO (XI (XI (XI (XI
+    (XI (XO (XO (XI (XO (XI (XO (XI (XO (XI (XO (XO (XO (XO (XI (XI (XO (XO
+    (XO (XO (XI (XO (XI XH))))))))))))))))))))))))))))))) :: ((Npos (XO (XI
+    (XI (XO (XO (XO (XO (XI (XI (XO (XI (XO (XI (XI (XO (XO (XI (XI (XO (XO
+    (XI (XI (XO (XI (XO (XO (XI (XO (XI (XO
+    XH))))))))))))))))))))))))))))))) :: ((Npos (XI (XO (XO (XI (XO (XO (XO
+    (XI (XI (XO (XI (XI (XI (XO (XO (XO (XI (XO (XI (XI (XI (XI (XO (XO (XI
+    (XI (XI (XO (XO XH)))))))))))))))))))))))))))))) :: ((Npos (XI (XI (XI
+    (XI (XO (XI (XO (XI (XI (XO (XI (XO (XI (XI (XO (XO (XI (XO (XO (XO (XI
+    (XO (XO (XI (XI (XI (XO XH)))))))))))))))))))))))))))) :: ((Npos (XI (XO
+    (XI (XO (XI (XI (XO (XI (XO (XI (XI (XO (XO (XO (XO (XI (XI (XO (XI (XO
+    (XI (XI (XO (XO (XI (XO (XO (XO (XO (XO (XI
+    XH)))))))))))))))))))))))))))))))) :: ((Npos (XO (XO (XI (XI (XO (XI (XI
+    (XI (XI (XI (XI (XI (XI (XO (XI (XO (XI (XO (XI (XI (XO (XO (XI (XO (XO
+    XH)))))))))))))))))))))))))) :: ((Npos (XI (XI (XO (XO (XO (XO (XI (XI
+    (XO (XO (XO (XO (XO (XO (XI (XO (XO (XI (XI (XI (XI (XI (XI (XI (XI (XO
+    (XO (XO XH))))))))))))))))))))))))))))) :: ((Npos (XI (XI (XO (XI (XO (XI
+    (XO (XI (XI (XO (XI (XI (XI (XO (XI (XI (XO (XI (XO (XI (XO (XI (XI (XI
+    (XO (XO (XO (XI (XI (XI (XI XH)))))))))))))))))))))))))))))))) :: ((Npos
+    (XO (XI (XO (XO (XO (XI (XO (XI (XO (XI (XO (XO (XO (XI (XO (XI (XO (XO
+    (XO (XI (XI (XI (XO (XI (XI (XO (XO (XO
+    XH))))))))))))))))))))))))))))) :: ((Npos (XI (XO (XO (XO (XO (XO (XO (XI
+    (XI (XO (XI (XO (XO (XO (XI (XO (XO (XO (XI (XI (XO (XI (XI (XO (XI (XI
+    (XI (XI (XI (XI XH))))))))))))))))))))))))))))))) :: ((Npos (XI (XO (XI
+    (XI (XO (XO (XO (XO (XO (XO (XO (XI (XI (XI (XO (XI (XI (XO (XI (XO (XI
+    (XO (XO (XI (XI (XO (XO (XI (XI (XO
+    XH))))))))))))))))))))))))))))))) :: ((Npos (XO (XI (XI (XI (XO (XI (XI
+    (XO (XO (XI (XI (XI (XI (XI (XO (XO (XO (XI (XI (XO (XI (XI (XO (XI (XO
+    (XI (XO (XI (XI (XO (XI XH)))))))))))))))))))))))))))))))) :: ((Npos (XO
+    (XO (XI (XI (XO (XI (XI (XO (XI (XI (XO (XI (XO (XO (XO (XO (XO (XO (XI
+    (XI (XI (XI (XO (XO (XO (XI (XI (XI (XI (XO (XI
+    XH)))))))))))))))))))))))))))))))) :: ((Npos (XO (XI (XO (XO (XO (XO (XO
+    (XO (XI (XO (XI (XO (XO (XO (XO (XI (XO (XO (XI (XI (XI (XI (XI (XI (XI
+    (XO (XI XH)))))))))))))))))))))))))))) :: ((Npos (XI (XO (XO (XI (XO (XO
+    (XO (XI (XI (XI (XO (XO (XI (XI (XO (XI (XO (XO (XO (XO (XI (XI (XI (XI
+    (XI (XI (XO (XO (XO (XO (XO XH)))))))))))))))))))))))))))))))) :: ((Npos
+    (XO (XO (XI (XO (XI (XO (XI (XO (XI (XI (XI (XO (XO (XO (XI (XO (XI (XI
+    (XI (XI (XI (XI (XI (XI (XO (XI (XO (XO (XO (XI (XO
+    XH)))))))))))))))))))))))))))))))) :: ((Npos (XO (XI (XI (XO (XO (XO (XO
+    (XI (XO (XI (XI (XI (XO (XI (XO (XO (XO (XI (XI (XO (XI (XO (XI (XO (XI
+    (XI (XO (XO (XO (XO XH))))))))))))))))))))))))))))))) :: ((Npos (XI (XI
+    (XI (XI (XI (XO (XI (XO (XO (XI (XI (XO (XI (XI (XO (XO (XO (XO (XI (XI
+    (XI (XI (XI (XI (XI (XO (XI (XI (XI (XI (XO
+    XH)))))))))))))))))))))))))))))))) :: ((Npos (XI (XI (XO (XO (XI (XI (XI
+    (XO (XO (XI (XO (XI (XI (XO (XO (XI (XI (XI (XO (XI (XO (XI (XI (XO (XO
+    (XI (XO (XI (XO (XI (XO XH)))))))))))))))))))))))))))))))) :: ((Npos (XI
+    (XI (XO (XI (XI (XI (XO (XI (XI (XO (XO (XO (XI (XO (XO (XI (XO (XI (XO
+    (XO (XO (XO (XI (XI (XI (XI (XO (XO (XO (XO (XI
+    XH)))))))))))))))))))))))))))))))) :: ((Npos (XO (XO (XI (XI (XI (XI (XO
+    (XO (XI (XO (XO (XI (XO (XI (XI (XO (XI (XO (XI (XI (XO (XI (XO (XI (XI
+    (XI (XO (XO (XO (XI (XI XH)))))))))))))))))))))))))))))))) :: ((Npos (XI
+    (XO (XI (XI (XO (XO (XI (XI (XO (XO (XI (XI (XO (XO (XO (XI (XI (XI (XO
+    (XI (XO (XO (XO (XO (XO (XO (XI (XO (XI (XO (XI
+    XH)))))))))))))))))))))))))))))))) :: ((Npos (XO (XO (XI (XI (XO (XI (XO
+    (XI (XO (XI (XI (XI (XO (XO (XO (XO (XI (XI (XI (XI (XO (XI (XI (XI (XO
+    (XI (XO (XI XH))))))))))))))))))))))))))))) :: ((Npos (XI (XO (XO (XO (XI
+    (XO (XI (XO (XI (XO (XI (XO (XI (XO (XO (XO (XI (XI (XI (XI (XI (XI (XO
+    (XI (XI (XI (XI (XO (XO (XI XH))))))))))))))))))))))))))))))) :: ((Npos
+    (XI (XO (XI (XI (XO (XI (XO (XO (XO (XI (XI (XI (XI (XO (XI (XO (XO (XI
+    (XI (XO (XO (XI (XO (XO (XO (XI (XI (XO (XI (XO (XI
+    XH)))))))))))))))))))))))))))))))) :: ((Npos (XI (XO (XO (XI (XO (XO (XO
+    (XO (XI (XI (XO (XO (XI (XO (XI (XI (XI (XI (XO (XO (XO (XI (XI (XI (XI
+    (XO (XI (XO (XO (XI XH))))))))))))))))))))))))))))))) :: ((Npos (XI (XI
+    (XO (XI (XO (XI (XI (XI (XO (XO (XI (XI (XO (XO (XO (XO (XO (XI (XI (XO
+    (XI (XI (XO (XI (XO (XO (XI (XI (XI (XO (XI
+    XH)))))))))))))))))))))))))))))))) :: ((Npos (XO (XO (XO (XO (XO (XI (XO
+    (XI (XI (XO (XO (XI (XO (XI (XO (XI (XO (XI (XO (XI (XI (XO (XO (XI (XO
+    (XI (XO (XO (XI (XO (XI XH)))))))))))))))))))))))))))))))) :: ((Npos (XI
+    (XO (XO (XI (XO (XO (XI (XO (XI (XO (XO (XO (XO (XO (XI (XI (XI (XO (XO
+    (XI (XI (XO (XI (XI (XI (XO (XO (XO (XO (XI
+    XH))))))))))))))))))))))))))))))) :: ((Npos (XO (XI (XO (XO (XI (XI (XI
+    (XI (XO (XI (XO (XI (XO (XI (XO (XI (XO (XO (XO (XO (XI (XI (XO (XI (XO
+    (XI (XO XH)))))))))))))))))))))))))))) :: ((Npos (XO (XO (XO (XO (XI (XI
+    (XO (XI (XO (XI (XO (XI (XI (XO (XI (XI (XI (XI (XO (XO (XO (XI (XI (XI
+    (XI (XO (XI (XI (XO (XO (XO XH)))))))))))))))))))))))))))))))) :: ((Npos
+    (XO (XO (XO (XO (XO (XO (XI (XO (XO (XO (XO (XI (XI (XO (XO (XO (XI (XO
+    (XI (XI (XI (XO (XO (XI (XO (XI (XO (XI (XO (XI (XI
+    XH)))))))))))))))))))))))))))))))) :: ((Npos (XO (XO (XI (XI (XO (XO (XO
+    (XO (XO (XO (XI (XI (XO (XO (XO (XI (XO (XO (XO (XI (XO (XI (XO (XI (XI
+    (XI (XO (XI (XI (XO (XI XH)))))))))))))))))))))))))))))))) :: ((Npos (XO
+    (XO (XO (XI (XI (XI (XO (XO (XO (XI (XI (XO (XI (XO (XO (XI (XO (XO (XO
+    (XO (XO (XI (XO (XO (XO (XO (XI (XI (XI (XI (XO
+    XH)))))))))))))))))))))))))))))))) :: ((Npos (XI (XO (XI (XO (XI (XO (XI
+    (XI (XO (XI (XI (XI (XI (XI (XO (XI (XI (XO (XI (XO (XO (XO (XO (XI (XO
+    (XI (XI (XI (XO (XI XH))))))))))))))))))))))))))))))) :: ((Npos (XI (XI
+    (XO (XI (XI (XI (XO (XO (XI (XO (XI (XI (XO (XI (XO (XO (XI (XO (XO (XO
+    (XI (XO (XO (XI (XO (XI (XO (XI (XO (XI (XO
+    XH)))))))))))))))))))))))))))))))) :: ((Npos (XO (XI (XO (XO (XO (XI (XI
+    (XI (XI (XO (XI (XI (XI (XI (XO (XO (XI (XI (XI (XO (XI (XO (XI (XO (XI
+    (XO (XI (XI (XI (XI (XO XH)))))))))))))))))))))))))))))))) :: ((Npos (XO
+    (XI (XO (XO (XO (XI (XI (XI (XO (XO (XO (XI (XI (XO (XI (XI (XI (XO (XO
+    (XO (XO (XO (XI (XI (XI (XO (XO (XO (XI
+    XH)))))))))))))))))))))))))))))) :: ((Npos (XI (XI (XI (XI (XO (XO (XI
+    (XI (XO (XI (XI (XI (XO (XO (XO (XO (XO (XO (XO (XO (XO (XO (XI (XI (XI
+    (XI (XO (XO XH))))))))))))))))))))))))))))) :: ((Npos (XI (XI (XI (XO (XI
+    (XI (XO (XO (XI (XI (XO (XO (XO (XI (XI (XI (XI (XO (XI (XI (XI (XO (XI
+    (XI (XO (XI (XI (XI XH))))))))))))))))))))))))))))) :: ((Npos (XO (XO (XI
+    (XO (XI (XI (XO (XO (XO (XO (XO (XI (XO (XO (XO (XI (XI (XI (XO (XI (XO
+    (XI (XI (XO (XI (XI (XO (XO (XI (XI (XO
+    XH)))))))))))))))))))))))))))))))) :: ((Npos (XI (XO (XO (XO (XI (XO (XI
+    (XI (XO (XI (XI (XI (XO (XO (XO (XO (XO (XO (XI (XI (XO (XI (XO (XO (XI
+    (XI (XI (XI (XO (XI (XI XH)))))))))))))))))))))))))))))))) :: ((Npos (XI
+    (XI (XO (XI (XO (XI (XI (XI (XO (XI (XO (XI (XI (XO (XO (XI (XI (XI (XI
+    (XO (XO (XI (XO (XO (XO (XO (XI (XO (XO (XO (XO
+    XH)))))))))))))))))))))))))))))))) :: ((Npos (XI (XO (XO (XO (XO (XI (XO
+    (XO (XI (XI (XI (XO (XO (XI (XI (XO (XO (XI (XI (XI (XO (XI (XI (XI (XI
+    (XI (XI (XI (XI (XO (XI XH)))))))))))))))))))))))))))))))) :: ((Npos (XO
+    (XI (XI (XI (XI (XO (XI (XI (XO (XI (XO (XO (XO (XO (XI (XI (XO (XO (XI
+    (XO (XI (XI (XI (XO (XI (XI (XI (XO (XI (XI (XO
+    XH)))))))))))))))))))))))))))))))) :: ((Npos (XI (XI (XI (XI (XI (XI (XI
+    (XI (XO (XO (XI (XI (XI (XI (XO (XI (XO (XO (XI (XI (XI (XI (XI (XO (XO
+    (XI (XO (XI (XI (XI XH))))))))))))))))))))))))))))))) :: ((Npos (XI (XO
+    (XO (XI (XI (XI (XO (XO (XI (XI (XI (XO (XI (XO (XO (XO (XI (XI (XO (XI
+    (XO (XI (XO (XI (XI (XI (XI (XO (XI (XI (XO
+    XH)))))))))))))))))))))))))))))))) :: ((Npos (XO (XO (XI (XI (XI (XO (XO
+    (XI (XI (XO (XO (XO (XI (XO (XO (XO (XI (XI (XI (XI (XO (XI (XO (XO (XO
+    (XO (XO (XI (XO (XI (XI XH)))))))))))))))))))))))))))))))) :: ((Npos (XI
+    (XI (XI (XO (XO (XO (XI (XO (XO (XO (XI (XO (XO (XO (XI (XI (XI (XI (XO
+    (XO (XO (XO (XO (XO (XO (XO (XI (XO (XO (XO
+    XH))))))))))))))))))))))))))))))) :: ((Npos (XI (XO (XI (XI (XI (XI (XO
+    (XI (XI (XO (XI (XI (XI (XO (XI (XI (XO (XI (XO (XO (XO (XI (XO (XI (XI
+    (XO (XI (XI (XO (XO (XO XH)))))))))))))))))))))))))))))))) :: ((Npos (XI
+    (XI (XI (XI (XO (XO (XI (XO (XI (XO (XO (XI (XO (XO (XI (XO (XI (XI (XO
+    (XO (XI (XO (XO (XI (XO (XO (XI (XI (XI (XO (XO
+    XH)))))))))))))))))))))))))))))))) :: ((Npos (XO (XO (XI (XO (XO (XI (XI
+    (XI (XO (XO (XI (XI (XO (XI (XO (XI (XI (XO (XI (XO (XO (XO (XI (XO (XO
+    (XO (XO (XI (XI (XO (XO XH)))))))))))))))))))))))))))))))) :: ((Npos (XI
+    (XO (XI (XI (XI (XI (XI (XO (XI (XI (XI (XO (XI (XO (XI (XO (XO (XI (XO
+    (XI (XO (XI (XI (XI (XI (XI (XI (XO
+    XH))))))))))))))))))))))))))))) :: ((Npos (XO (XI (XO (XO (XO (XO (XO (XO
+    (XO (XO (XO (XI (XI (XO (XO (XI (XO (XI (XI (XO (XO (XO (XO (XO (XI (XI
+    (XI (XO (XI (XO XH))))))))))))))))))))))))))))))) :: ((Npos (XO (XO (XO
+    (XO (XI (XI (XI (XO (XI (XO (XI (XI (XI (XI (XO (XI (XO (XI (XO (XI (XO
+    (XI (XI (XO (XO (XO (XO (XI (XO
+    XH)))))))))))))))))))))))))))))) :: ((Npos (XI (XO (XO (XO (XI (XO (XO
+    (XO (XO (XO (XO (XI (XI (XI (XI (XO (XO (XI (XO (XI (XI (XI (XI (XO (XI
+    (XI (XI (XI (XI XH)))))))))))))))))))))))))))))) :: ((Npos (XO (XO (XO
+    (XI (XI (XO (XI (XI (XO (XO (XI (XO (XO (XI (XO (XO (XI (XO (XI (XO (XI
+    (XO (XO (XO (XO (XO (XO (XI (XI
+    XH)))))))))))))))))))))))))))))) :: ((Npos (XO (XO (XI (XI (XO (XI (XO
+    (XO (XO (XI (XO (XO (XO (XO (XO (XO (XO (XI (XI (XI (XI (XI (XO (XI (XI
+    (XI (XO (XO (XO (XI XH))))))))))))))))))))))))))))))) :: ((Npos (XI (XI
+    (XI (XO (XI (XI (XI (XO (XO (XO (XO (XI (XI (XO (XO (XO (XO (XI (XI (XO
+    (XO (XO (XO (XI (XI (XI (XI (XI XH))))))))))))))))))))))))))))) :: ((Npos
+    (XO (XI (XI (XO (XI (XI (XI (XO (XO (XI (XI (XO (XO (XI (XI (XO (XI (XI
+    (XO (XO (XI (XO (XO (XO (XO (XI (XI (XO (XO (XI
+    XH))))))))))))))))))))))))))))))) :: ((Npos (XO (XO (XI (XO (XI (XO (XO
+    (XI (XI (XI (XO (XI (XI (XO (XO (XI (XO (XO (XO (XI (XI (XO (XI (XO (XO
+    (XO (XO (XI (XI (XO (XI XH)))))))))))))))))))))))))))))))) :: ((Npos (XI
+    (XI (XI (XO (XI (XI (XO (XI (XO (XO (XO (XO (XO (XI (XO (XO (XO (XI (XI
+    (XO (XI (XI (XI (XI (XO (XO (XO (XO (XI (XO
+    XH))))))))))))))))))))))))))))))) :: [])))))))))))))))))))))))))))))))))))))))))))))))))))))))))))))))))))))))))))))))))))))))))))))))))))))))))))))))))))))))))))))))))))))))))))))))))))))))))))))))))))))))))))))))))))))))))))))))))))))))))))))))))))))))))))))))))))))))))))))))))))))))))))))))
+
+(** val v1 : n list **)
+
+let v1 =
+  (Npos (XI (XO (XI (XO (XO (XO (XI (XO (XI (XO (XO (XI (XI (XI (XO (XI (XI
+    (XI (XI (XI (XI (XO (XO (XO (XO (XO (XO (XO (XI
+    XH)))))))))))))))))))))))))))))) :: ((Npos (XI (XI (XI (XO (XO (XO (XI
+    (XI (XO (XI (XO (XO (XI (XO (XI (XI (XO (XI (XI (XO (XO (XO (XI (XI (XI
+    (XO (XO (XI (XI (XI XH))))))))))))))))))))))))))))))) :: ((Npos (XO (XO
+    (XI (XO (XO (XI (XI (XI (XO (XI (XO (XO (XO (XO (XI (XI (XO (XI (XO (XO
+    (XO (XI (XI (XI (XO (XI (XI (XO (XO (XO (XI
+    XH)))))))))))))))))))))))))))))))) :: ((Npos (XI (XO (XO (XI (XO (XI (XI
+    (XI (XO (XI (XI (XI (XO (XO (XO (XI (XO (XO (XI (XI (XI (XO (XO (XI (XI
+    (XO (XI (XI (XO (XO XH))))))))))))))))))))))))))))))) :: ((Npos (XI (XI
+    (XO (XI (XI (XI (XO (XO (XO (XO (XI (XI (XO (XO (XI (XI (XO (XO (XO (XO
+    (XI (XO (XI (XI (XI (XI (XI (XO (XO (XO (XO
+    XH)))))))))))))))))))))))))))))))) :: ((Npos (XO (XO (XI (XI (XO (XI (XI
+    (XI (XI (XI (XO (XI (XI (XI (XO (XO (XI (XI (XI (XI (XI (XI (XO (XO (XO
+    (XO (XO (XO (XO XH)))))))))))))))))))))))))))))) :: ((Npos (XO (XI (XI
+    (XI (XO (XI (XO (XO (XI (XO (XO (XI (XO (XI (XI (XO (XO (XO (XO (XI (XO
+    (XI (XI (XO (XO (XO (XI (XO (XO (XI
+    XH))))))))))))))))))))))))))))))) :: ((Npos (XO (XI (XI (XO (XI (XO (XI
+    (XI (XI (XI (XI (XO (XI (XO (XO (XO (XI (XI (XI (XO (XI (XI (XO (XO (XO
+    (XI (XI (XO XH))))))))))))))))))))))))))))) :: ((Npos (XI (XO (XI (XI (XI
+    (XO (XI (XI (XI (XO (XI (XI (XO (XI (XO (XI (XI (XI (XO (XI (XI (XO (XO
+    (XO (XI (XO (XO (XO (XI (XO (XI
+    XH)))))))))))))))))))))))))))))))) :: ((Npos (XI (XO (XI (XO (XI (XO (XO
+    (XI (XI (XO (XO (XO (XI (XO (XI (XI (XO (XI (XI (XO (XO (XI (XI (XO (XI
+    (XO (XO (XI (XO (XI XH))))))))))))))))))))))))))))))) :: ((Npos (XO (XO
+    (XI (XI (XI (XO (XI (XO (XO (XO (XI (XI (XO (XO (XO (XI (XI (XO (XO (XI
+    (XI (XI (XO (XI (XI (XI (XO (XI (XO (XO
+    XH))))))))))))))))))))))))))))))) :: ((Npos (XO (XI (XI (XI (XI (XO (XO
+    (XO (XO (XO (XI (XO (XI (XO (XO (XO (XI (XI (XI (XO (XO (XI (XO (XO (XI
+    (XI (XO (XI (XI (XO (XO XH)))))))))))))))))))))))))))))))) :: ((Npos (XI
+    (XO (XO (XI (XO (XO (XO (XO (XI (XI (XO (XI (XO (XI (XO (XO (XI (XI (XI
+    (XO (XO (XI (XO (XO (XO (XI (XO (XI (XI (XI
+    XH))))))))))))))))))))))))))))))) :: ((Npos (XI (XI (XO (XI (XI (XO (XI
+    (XO (XO (XI (XI (XI (XO (XI (XI (XO (XO (XI (XO (XO (XI (XI (XI (XI (XI
+    (XI (XI (XO (XO (XI (XI XH)))))))))))))))))))))))))))))))) :: ((Npos (XI
+    (XO (XO (XI (XI (XI (XI (XO (XO (XI (XO (XO (XO (XI (XI (XO (XI (XI (XO
+    (XO (XI (XO (XI (XO (XO (XO (XO (XO (XO (XO (XO
+    XH)))))))))))))))))))))))))))))))) :: ((Npos (XI (XO (XO (XO (XI (XO (XI
+    (XO (XO (XI (XO (XO (XO (XO (XI (XO (XO (XI (XO (XO (XO (XO (XI (XO (XI
+    (XO (XI (XO (XI (XI (XI XH)))))))))))))))))))))))))))))))) :: ((Npos (XO
+    (XI (XI (XO (XI (XO (XO (XO (XI (XI (XO (XI (XO (XO (XO (XI (XO (XO (XI
+    (XI (XO (XO (XO (XI (XO (XI (XI (XO (XI
+    XH)))))))))))))))))))))))))))))) :: ((Npos (XO (XI (XI (XI (XI (XO (XO
+    (XI (XO (XO (XI (XO (XO (XO (XO (XI (XI (XO (XI (XI (XO (XO (XI (XI (XI
+    (XI (XI (XI (XI (XO (XI XH)))))))))))))))))))))))))))))))) :: ((Npos (XO
+    (XI (XO (XO (XI (XO (XO (XO (XI (XI (XI (XO (XI (XO (XI (XI (XO (XO (XO
+    (XO (XO (XO (XI (XI (XI (XO (XO (XI (XO
+    XH)))))))))))))))))))))))))))))) :: ((Npos (XI (XO (XO (XI (XO (XO (XO
+    (XI (XI (XI (XO (XO (XO (XO (XO (XO (XI (XO (XI (XI (XO (XO (XO (XO (XI
+    (XI (XI (XI (XI (XI XH))))))))))))))))))))))))))))))) :: ((Npos (XO (XI
+    (XI (XO (XI (XO (XI (XO (XO (XO (XI (XI (XI (XO (XI (XO (XO (XO (XI (XO
+    (XO (XO (XO (XO (XO (XI (XI (XI (XO (XO
+    XH))))))))))))))))))))))))))))))) :: ((Npos (XO (XI (XI (XO (XO (XI (XI
+    (XO (XO (XO (XI (XO (XO (XI (XO (XI (XO (XO (XO (XO (XO (XI (XI (XO (XI
+    (XO (XI XH)))))))))))))))))))))))))))) :: ((Npos (XI (XI (XI (XO (XO (XO
+    (XO (XI (XO (XI (XO (XO (XI (XI (XI (XO (XI (XO (XO (XO (XI (XO (XI (XO
+    (XO (XI (XO (XO (XI (XI (XI XH)))))))))))))))))))))))))))))))) :: ((Npos
+    (XO (XO (XO (XI (XI (XO (XI (XI (XO (XI (XO (XO (XO (XI (XO (XI (XI (XO
+    (XO (XO (XO (XI (XI (XI (XO (XO (XO (XI (XI (XO (XI
+    XH)))))))))))))))))))))))))))))))) :: ((Npos (XO (XO (XO (XI (XI (XO (XO
+    (XI (XI (XI (XO (XO (XO (XI (XI (XO (XI (XO (XO (XI (XI (XO (XO (XO (XO
+    (XO (XI (XO (XO (XI XH))))))))))))))))))))))))))))))) :: ((Npos (XO (XI
+    (XO (XI (XO (XO (XI (XO (XO (XO (XI (XI (XO (XI (XO (XO (XO (XI (XI (XO
+    (XO (XO (XO (XI (XO (XO (XI (XI (XO (XO (XI
+    XH)))))))))))))))))))))))))))))))) :: ((Npos (XI (XO (XO (XO (XI (XO (XO
+    (XI (XI (XO (XO (XI (XI (XI (XI (XO (XO (XI (XO (XO (XI (XO (XO (XO (XO
+    (XI (XO (XI (XO (XI XH))))))))))))))))))))))))))))))) :: ((Npos (XO (XI
+    (XI (XI (XI (XO (XO (XI (XI (XO (XO (XO (XO (XO (XO (XI (XI (XO (XI (XO
+    (XO (XI (XI (XI (XO (XI (XI (XO (XI (XI (XO
+    XH)))))))))))))))))))))))))))))))) :: ((Npos (XI (XO (XI (XO (XI (XI (XO
+    (XO (XI (XO (XO (XI (XI (XI (XI (XO (XI (XO (XO (XO (XO (XI (XI (XI (XO
+    (XO (XI (XO (XI (XO XH))))))))))))))))))))))))))))))) :: ((Npos (XO (XO
+    (XO (XO (XI (XO (XO (XO (XO (XO (XI (XI (XO (XI (XO (XO (XI (XO (XO (XI
+    (XI (XO (XO (XI (XI (XO (XI (XI (XI
+    XH)))))))))))))))))))))))))))))) :: ((Npos (XI (XO (XI (XO (XI (XI (XO
+    (XI (XO (XI (XI (XO (XO (XI (XO (XO (XO (XO (XI (XI (XO (XI (XI (XO (XI
+    (XO (XO (XO (XI (XI (XI XH)))))))))))))))))))))))))))))))) :: ((Npos (XI
+    (XO (XO (XO (XI (XI (XO (XI (XI (XI (XO (XI (XI (XO (XO (XO (XO (XO (XI
+    (XO (XI (XO (XI (XI (XO (XO (XI (XO (XO (XO (XI
+    XH)))))))))))))))))))))))))))))))) :: ((Npos (XI (XO (XI (XO (XI (XI (XO
+    (XO (XO (XI (XO (XI (XI (XO (XI (XI (XI (XO (XO (XO (XI (XO (XO (XO (XI
+    (XO (XO (XI XH))))))))))))))))))))))))))))) :: ((Npos (XI (XI (XO (XO (XO
+    (XI (XO (XO (XO (XO (XI (XO (XO (XO (XO (XO (XI (XO (XO (XI (XI (XI (XI
+    (XI (XO (XI (XO (XI (XO (XI (XO
+    XH)))))))))))))))))))))))))))))))) :: ((Npos (XO (XI (XO (XI (XO (XI (XO
+    (XI (XO (XO (XO (XO (XO (XO (XO (XO (XO (XO (XI (XO (XI (XO (XO (XI (XO
+    (XI (XO (XO XH))))))))))))))))))))))))))))) :: ((Npos (XI (XI (XI (XO (XI
+    (XO (XO (XO (XO (XI (XO (XO (XO (XO (XI (XI (XO (XO (XO (XO (XI (XI (XI
+    (XO (XI (XI (XI XH)))))))))))))))))))))))))))) :: ((Npos (XI (XO (XI (XI
+    (XO (XI (XI (XI (XO (XI (XO (XI (XO (XI (XO (XI (XI (XI (XO (XO (XI (XO
+    (XI (XI (XI (XO (XO (XO (XI (XI (XI
+    XH)))))))))))))))))))))))))))))))) :: ((Npos (XO (XO (XO (XO (XI (XO (XI
+    (XO (XO (XI (XO (XO (XI (XI (XO (XO (XO (XI (XI (XO (XO (XI (XI (XI (XI
+    (XO (XI (XI (XI (XO XH))))))))))))))))))))))))))))))) :: ((Npos (XI (XO
+    (XO (XI (XO (XO (XI (XO (XO (XO (XO (XO (XO (XO (XO (XI (XO (XI (XI (XI
+    (XO (XI (XI (XO (XI (XI (XI (XO (XI (XI (XI
+    XH)))))))))))))))))))))))))))))))) :: ((Npos (XO (XO (XO (XI (XI (XI (XO
+    (XO (XI (XI (XI (XO (XO (XO (XI (XO (XO (XI (XO (XO (XI (XO (XO (XI (XO
+    (XI XH))))))))))))))))))))))))))) :: ((Npos (XI (XO (XO (XO (XO (XO (XO
+    (XO (XO (XI (XO (XO (XO (XI (XO (XO (XI (XO (XO (XI (XI (XI (XO (XO (XI
+    (XI (XO (XO (XI (XI (XO XH)))))))))))))))))))))))))))))))) :: ((Npos (XI
+    (XO (XI (XO (XI (XO (XO (XO (XI (XI (XO (XO (XI (XO (XI (XI (XO (XO (XI
+    (XI (XO (XI (XI (XI (XI (XI (XI (XI (XI (XI (XI
+    XH)))))))))))))))))))))))))))))))) :: ((Npos (XO (XO (XI (XI (XI (XI (XI
+    (XO (XI (XI (XI (XI (XO (XI (XI (XI (XO (XO (XO (XO (XI (XI (XO (XI (XO
+    (XO (XO (XO (XI (XO (XI XH)))))))))))))))))))))))))))))))) :: ((Npos (XI
+    (XI (XO (XI (XI (XI (XO (XI (XO (XI (XO (XO (XO (XI (XI (XO (XO (XO (XI
+    (XI (XI (XI (XI (XO (XI (XI (XO (XI (XI
+    XH)))))))))))))))))))))))))))))) :: ((Npos (XI (XI (XI (XO (XO (XI (XI
+    (XI (XO (XO (XO (XI (XO (XO (XO (XI (XO (XI (XO (XO (XO (XO (XI (XI (XI
+    (XO (XI (XI XH))))))))))))))))))))))))))))) :: ((Npos (XO (XI (XI (XO (XI
+    (XI (XI (XO (XI (XI (XI (XI (XO (XI (XO (XI (XI (XO (XI (XI (XI (XO (XI
+    (XI (XI (XI (XI (XO (XO (XO XH))))))))))))))))))))))))))))))) :: ((Npos
+    (XI (XO (XO (XO (XO (XO (XO (XI (XO (XI (XO (XO (XO (XI (XO (XI (XI (XO
+    (XI (XO (XO (XI (XO (XI (XO (XI (XO (XO (XI (XI (XO
+    XH)))))))))))))))))))))))))))))))) :: ((Npos (XI (XO (XI (XO (XI (XO (XO
+    (XI (XO (XI (XI (XI (XI (XI (XI (XI (XI (XI (XO (XI (XO (XI (XO (XO (XO
+    (XI (XI (XO (XO XH)))))))))))))))))))))))))))))) :: ((Npos (XI (XI (XI
+    (XO (XI (XO (XO (XI (XI (XO (XO (XI (XI (XI (XO (XI (XO (XI (XO (XO (XI
+    (XI (XI (XO (XI (XO (XI (XO (XI (XI (XO
+    XH)))))))))))))))))))))))))))))))) :: ((Npos (XI (XI (XI (XI (XI (XI (XO
+    (XI (XI (XI (XI (XI (XO (XO (XI (XO (XO (XI (XO (XO (XO (XO (XO (XO (XI
+    (XO (XI (XI XH))))))))))))))))))))))))))))) :: ((Npos (XO (XI (XI (XI (XI
+    (XO (XI (XO (XO (XI (XO (XO (XO (XI (XI (XI (XO (XI (XO (XO (XO (XI (XO
+    (XO (XO (XO (XO (XO (XO (XI (XO
+    XH)))))))))))))))))))))))))))))))) :: ((Npos (XI (XO (XO (XO (XO (XO (XO
+    (XO (XO (XI (XO (XO (XI (XO (XO (XI (XI (XO (XO (XI (XI (XI (XO (XI (XO
+    (XI (XI (XI (XO (XO (XO XH)))))))))))))))))))))))))))))))) :: ((Npos (XI
+    (XO (XI (XI (XO (XI (XO (XI (XO (XI (XO (XI (XI (XI (XI (XO (XI (XO (XI
+    (XI (XO (XO (XI (XO (XO (XI (XI (XO (XI (XO (XO
+    XH)))))))))))))))))))))))))))))))) :: ((Npos (XI (XI (XO (XO (XO (XO (XO
+    (XO (XI (XO (XO (XI (XI (XO (XI (XI (XO (XI (XO (XI (XI (XI (XI (XI (XO
+    XH)))))))))))))))))))))))))) :: ((Npos (XI (XI (XO (XI (XO (XI (XO (XO
+    (XI (XI (XO (XI (XO (XO (XO (XO (XI (XO (XI (XI (XI (XO (XO (XO (XI (XO
+    (XI (XO (XO (XI (XI XH)))))))))))))))))))))))))))))))) :: ((Npos (XO (XO
+    (XI (XI (XO (XI (XI (XI (XO (XO (XI (XI (XO (XO (XI (XI (XI (XI (XI (XO
+    (XO (XI (XI (XO (XO (XI (XO (XI (XI (XI (XI
+    XH)))))))))))))))))))))))))))))))) :: ((Npos (XO (XI (XI (XO (XI (XO (XO
+    (XI (XI (XO (XO (XI (XI (XI (XO (XO (XO (XI (XO (XI (XO (XO (XI (XI (XO
+    (XO (XO (XI XH))))))))))))))))))))))))))))) :: ((Npos (XI (XO (XO (XI (XO
+    (XO (XI (XO (XO (XI (XO (XO (XI (XI (XI (XO (XO (XI (XI (XO (XO (XI (XO
+    (XO XH))))))))))))))))))))))))) :: ((Npos (XI (XI (XI (XO (XI (XO (XI (XO
+    (XO (XO (XO (XO (XI (XO (XO (XO (XI (XI (XO (XO (XI (XI (XO (XO (XI (XI
+    (XI (XI (XO (XO (XO XH)))))))))))))))))))))))))))))))) :: ((Npos (XO (XI
+    (XI (XI (XI (XO (XO (XI (XI (XO (XO (XI (XI (XO (XI (XI (XI (XO (XO (XO
+    (XO (XI (XI (XO (XI (XI (XI (XI (XI (XI
+    XH))))))))))))))))))))))))))))))) :: ((Npos (XO (XO (XI (XO (XO (XO (XO
+    (XO (XO (XO (XO (XO (XI (XO (XI (XI (XO (XO (XI (XO (XI (XI (XI (XI (XI
+    (XI (XI (XO (XO (XI XH))))))))))))))))))))))))))))))) :: ((Npos (XI (XO
+    (XI (XO (XO (XO (XI (XI (XO (XI (XO (XO (XI (XO (XO (XI (XI (XO (XO (XO
+    (XI (XO (XO (XI (XO (XI (XO (XO (XO
+    XH)))))))))))))))))))))))))))))) :: ((Npos (XO (XO (XO (XI (XO (XI (XO
+    (XI (XI (XI (XO (XO (XO (XO (XI (XO (XO (XO (XI (XO (XI (XI (XI (XO (XI
+    (XO (XO (XI (XI (XI XH))))))))))))))))))))))))))))))) :: ((Npos (XO (XI
+    (XO (XI (XO (XI (XO (XO (XI (XI (XO (XO (XO (XI (XO (XO (XI (XI (XO (XI
+    (XO (XO (XI (XI (XO (XI (XO (XO (XI
+    XH)))))))))))))))))))))))))))))) :: ((Npos (XI (XO (XO (XO (XO (XO (XI
+    (XO (XI (XO (XO (XI (XI (XI (XI (XI (XO (XI (XO (XO (XI (XO (XI (XI (XI
+    (XI (XI (XI (XI (XO (XO XH)))))))))))))))))))))))))))))))) :: ((Npos (XO
+    (XI (XI (XI (XI (XI (XI (XO (XI (XO (XO (XI (XO (XI (XO (XO (XO (XI (XO
+    (XI (XO (XI (XI (XO (XO (XI (XI (XI (XI
+    XH)))))))))))))))))))))))))))))) :: ((Npos (XO (XO (XO (XO (XI (XI (XI
+    (XI (XO (XO (XI (XI (XI (XO (XI (XO (XO (XO (XO (XO (XO (XO (XI (XI (XI
+    (XO (XO (XO (XI (XI (XO XH)))))))))))))))))))))))))))))))) :: ((Npos (XO
+    (XI (XI (XI (XO (XI (XI (XI (XO (XO (XO (XI (XI (XO (XI (XI (XI (XO (XO
+    (XO (XO (XO (XI (XO (XO (XI (XI (XO (XI
+    XH)))))))))))))))))))))))))))))) :: ((Npos (XO (XO (XO (XI (XO (XO (XI
+    (XI (XO (XO (XO (XI (XI (XO (XI (XO (XI (XO (XO (XI (XI (XO (XO (XI (XI
+    (XO (XO (XI (XI (XI (XI XH)))))))))))))))))))))))))))))))) :: ((Npos (XO
+    (XO (XO (XO (XO (XI (XI (XI (XI (XI (XI (XO (XO (XO (XI (XO (XO (XI (XI
+    (XI (XI (XO (XI (XO (XO (XI (XO (XI (XI (XO (XO
+    XH)))))))))))))))))))))))))))))))) :: ((Npos (XI (XI (XI (XO (XI (XI (XO
+    (XI (XO (XI (XO (XI (XO (XO (XI (XI (XI (XO (XO (XI (XI (XI (XI (XI (XO
+    (XI (XO (XI (XI XH)))))))))))))))))))))))))))))) :: ((Npos (XO (XO (XO
+    (XI (XO (XO (XO (XO (XO (XO (XO (XO (XO (XO (XO (XI (XI (XI (XO (XO (XO
+    (XO (XI (XO (XO (XO (XI (XO (XO (XO (XI
+    XH)))))))))))))))))))))))))))))))) :: ((Npos (XI (XI (XI (XI (XI (XO (XO
+    (XO (XI (XI (XI (XI (XI (XO (XI (XI (XI (XO (XI (XI (XO (XI (XO (XO (XO
+    (XI (XI (XI XH))))))))))))))))))))))))))))) :: ((Npos (XO (XI (XO (XO (XI
+    (XI (XI (XI (XI (XO (XI (XO (XI (XI (XO (XI (XI (XO (XI (XI (XI (XI (XI
+    (XO (XO (XI (XO XH)))))))))))))))))))))))))))) :: ((Npos (XO (XO (XO (XO
+    (XO (XI (XI (XI (XI (XI (XI (XO (XI (XO (XI (XI (XO (XO (XO (XO (XI (XI
+    (XO (XO (XI (XI (XI (XI (XO (XI
+    XH))))))))))))))))))))))))))))))) :: ((Npos (XO (XO (XO (XI (XO (XI (XO
+    (XO (XI (XO (XO (XI (XI (XI (XO (XI (XI (XI (XI (XI (XI (XO (XO (XO (XO
+    (XO (XI (XI (XI (XO (XO XH)))))))))))))))))))))))))))))))) :: ((Npos (XO
+    (XI (XO (XO (XO (XO (XO (XO (XI (XO (XI (XI (XI (XO (XO (XI (XO (XI (XO
+    (XI (XO (XI (XO (XI (XI (XO (XO (XO (XO
+    XH)))))))))))))))))))))))))))))) :: ((Npos (XI (XO (XI (XO (XI (XI (XO
+    (XI (XO (XI (XO (XO (XI (XO (XI (XI (XI (XO (XI (XO (XO (XO (XO (XO (XI
+    (XI (XI (XO (XI (XI XH))))))))))))))))))))))))))))))) :: ((Npos (XI (XO
+    (XO (XI (XI (XI (XO (XI (XI (XI (XI (XI (XI (XO (XI (XO (XI (XI (XI (XI
+    (XI (XI (XO (XO (XO (XO (XI (XO XH))))))))))))))))))))))))))))) :: ((Npos
+    (XO (XO (XI (XO (XI (XI (XO (XI (XO (XO (XI (XO (XO (XI (XO (XI (XI (XI
+    (XI (XO (XO (XI (XO (XI (XO (XI (XO (XO (XI (XI (XI
+    XH)))))))))))))))))))))))))))))))) :: ((Npos (XO (XO (XO (XO (XO (XO (XI
+    (XO (XI (XI (XO (XI (XO (XO (XO (XO (XI (XO (XI (XO (XI (XI (XO (XI (XI
+    (XI (XI (XO (XI (XO (XI XH)))))))))))))))))))))))))))))))) :: ((Npos (XO
+    (XI (XI (XI (XI (XI (XO (XO (XO (XO (XO (XO (XI (XI (XO (XO (XO (XO (XO
+    (XI (XI (XO (XI (XI (XI (XO (XI (XI (XI (XI
+    XH))))))))))))))))))))))))))))))) :: ((Npos (XI (XO (XO (XO (XI (XO (XI
+    (XO (XO (XI (XI (XI (XO (XI (XI (XO (XO (XO (XI (XO (XI (XI (XO (XO (XI
+    (XO (XO (XO (XO (XO XH))))))))))))))))))))))))))))))) :: ((Npos (XO (XO
+    (XO (XI (XO (XO (XI (XO (XO (XO (XO (XI (XI (XO (XO (XI (XI (XO (XO (XI
+    (XI (XO (XO (XO (XI (XO (XO (XI (XI
+    XH)))))))))))))))))))))))))))))) :: ((Npos (XO (XO (XO (XO (XO (XO (XI
+    (XO (XO (XO (XO (XO (XO (XO (XO (XO (XI (XI (XO (XI (XO (XI (XO (XO (XI
+    (XO (XI (XO (XI XH)))))))))))))))))))))))))))))) :: ((Npos (XO (XI (XI
+    (XO (XI (XI (XI (XO (XI (XI (XI (XO (XI (XI (XI (XI (XO (XI (XO (XI (XO
+    (XO (XO (XI (XO (XI (XI (XI (XO (XI
+    XH))))))))))))))))))))))))))))))) :: ((Npos (XI (XI (XI (XO (XO (XI (XO
+    (XO (XO (XI (XI (XI (XO (XI (XI (XI (XI (XO (XO (XI (XO (XI (XO (XI (XI
+    (XI (XI (XI (XO (XI XH))))))))))))))))))))))))))))))) :: ((Npos (XI (XI
+    (XI (XO (XI (XI (XO (XO (XO (XO (XI (XO (XO (XO (XI (XI (XO (XO (XI (XI
+    (XO (XI (XI (XI (XO (XO (XI (XO (XI (XO (XO
+    XH)))))))))))))))))))))))))))))))) :: ((Npos (XI (XI (XO (XO (XO (XI (XI
+    (XI (XI (XI (XI (XI (XO (XO (XO (XI (XI (XO (XI (XO (XI (XO (XO (XI (XO
+    (XO (XO (XO (XO (XI (XO XH)))))))))))))))))))))))))))))))) :: ((Npos (XO
+    (XI (XO (XO (XO (XI (XO (XI (XO (XI (XI (XI (XI (XO (XI (XI (XO (XO (XO
+    (XO (XO (XI (XI (XI (XO (XI (XO (XO (XI (XI
+    XH))))))))))))))))))))))))))))))) :: ((Npos (XI (XO (XO (XO (XI (XO (XI
+    (XO (XI (XI (XO (XI (XI (XI (XI (XO (XI (XO (XO (XO (XO (XI (XI (XO (XO
+    (XI (XO (XO (XO (XI XH))))))))))))))))))))))))))))))) :: ((Npos (XI (XI
+    (XI (XO (XI (XI (XI (XO (XO (XO (XO (XI (XI (XO (XO (XI (XO (XI (XI (XO
+    (XI (XI (XI (XI (XO (XI (XO XH)))))))))))))))))))))))))))) :: ((Npos (XI
+    (XO (XO (XO (XI (XI (XI (XI (XO (XI (XI (XI (XO (XI (XI (XI (XI (XO (XO
+    (XI (XI (XI (XI (XO (XO (XI (XI (XO (XI (XI (XO
+    XH)))))))))))))))))))))))))))))))) :: ((Npos (XO (XO (XI (XO (XO (XO (XI
+    (XO (XI (XI (XO (XO (XI (XO (XI (XI (XI (XO (XO (XI (XI (XI (XO (XO (XI
+    (XI (XO (XI (XI (XI XH))))))))))))))))))))))))))))))) :: ((Npos (XO (XO
+    (XI (XO (XO (XO (XO (XO (XI (XO (XO (XO (XI (XI (XO (XI (XI (XO (XI (XO
+    (XO (XI (XO (XI (XI (XO (XI XH)))))))))))))))))))))))))))) :: ((Npos (XO
+    (XI (XI (XO (XO (XI (XI (XO (XI (XI (XO (XI (XI (XI (XI (XI (XI (XI (XO
+    (XO (XI (XI (XO (XI (XO (XO (XO (XI (XO (XI (XI
+    XH)))))))))))))))))))))))))))))))) :: ((Npos (XI (XO (XO (XI (XO (XI (XO
+    (XO (XI (XO (XI (XO (XI (XI (XI (XI (XO (XO (XO (XO (XO (XI (XO (XO (XI
+    (XI (XI (XI (XI (XO XH))))))))))))))))))))))))))))))) :: ((Npos (XO (XO
+    (XI (XI (XI (XI (XO (XI (XO (XO (XO (XI (XI (XO (XI (XO (XI (XI (XO (XO
+    (XO (XI (XO (XO (XO (XI (XO (XI (XO (XI
+    XH))))))))))))))))))))))))))))))) :: ((Npos (XI (XI (XO (XI (XO (XI (XI
+    (XI (XI (XI (XI (XI (XI (XO (XO (XI (XO (XO (XO (XO (XI (XO (XI (XI (XO
+    (XI (XO (XO (XI (XO (XO XH)))))))))))))))))))))))))))))))) :: ((Npos (XI
+    (XI (XI (XO (XI (XI (XO (XO (XO (XI (XI (XI (XI (XI (XO (XI (XO (XO (XO
+    (XO (XI (XO (XI (XO (XO (XI (XO (XO
+    XH))))))))))))))))))))))))))))) :: ((Npos (XI (XI (XI (XO (XO (XO (XO (XO
+    (XO (XO (XI (XO (XO (XI (XI (XI (XO (XI (XI (XI (XI (XI (XI (XI (XO (XO
+    (XO (XO (XO (XO (XI XH)))))))))))))))))))))))))))))))) :: ((Npos (XI (XI
+    (XI (XO (XO (XI (XO (XI (XO (XI (XO (XI (XO (XO (XO (XO (XO (XO (XO (XI
+    (XO (XI (XO (XI (XI (XO (XI (XO (XO (XI (XI
+    XH)))))))))))))))))))))))))))))))) :: ((Npos (XO (XI (XI (XO (XO (XO (XO
+    (XI (XO (XO (XO (XI (XO (XI (XO (XO (XI (XO (XO (XI (XI (XI (XI (XI (XO
+    (XI (XI (XI (XO (XO (XO XH)))))))))))))))))))))))))))))))) :: ((Npos (XO
+    (XO (XO (XI (XO (XI (XO (XO (XO (XO (XI (XI (XI (XO (XO (XI (XI (XI (XO
+    (XO (XO (XO (XI (XI (XI (XI (XI (XI (XI (XO (XI
+    XH)))))))))))))))))))))))))))))))) :: ((Npos (XI (XI (XI (XI (XO (XO (XO
+    (XO (XO (XO (XO (XI (XI (XI (XO (XO (XO (XI (XI (XI (XI (XO (XO (XO (XI
+    (XI (XI (XI XH))))))))))))))))))))))))))))) :: ((Npos (XO (XI (XO (XI (XI
+    (XO (XI (XO (XI (XO (XO (XI (XO (XI (XO (XO (XI (XO (XO (XI (XI (XI (XO
+    (XI (XO (XO (XO XH)))))))))))))))))))))))))))) :: ((Npos (XO (XO (XO (XI
+    (XI (XI (XO (XO (XI (XO (XO (XI (XO (XO (XO (XO (XO (XO (XI (XI (XO (XI
+    (XO (XI (XO (XO (XI (XO (XI (XI (XI
+    XH)))))))))))))))))))))))))))))))) :: ((Npos (XO (XO (XI (XI (XO (XO (XI
+    (XI (XI (XI (XI (XO (XI (XI (XO (XO (XI (XO (XO (XO (XI (XO (XO (XI (XO
+    (XO (XI (XO (XI (XI (XO XH)))))))))))))))))))))))))))))))) :: ((Npos (XI
+    (XI (XI (XI (XO (XO (XO (XI (XI (XO (XO (XI (XI (XO (XO (XI (XO (XI (XI
+    (XO (XI (XO (XI (XO (XI (XI (XO (XO (XI (XO (XI
+    XH)))))))))))))))))))))))))))))))) :: ((Npos (XO (XI (XI (XI (XI (XI (XI
+    (XI (XO (XI (XO (XO (XO (XO (XO (XI (XO (XI (XO (XI (XO (XO (XI (XI (XI
+    (XI (XO (XO XH))))))))))))))))))))))))))))) :: ((Npos (XI (XO (XI (XI (XO
+    (XI (XO (XO (XO (XI (XO (XI (XO (XI (XO (XO (XO (XI (XI (XO (XI (XI (XO
+    (XO (XO (XI (XO (XI (XI XH)))))))))))))))))))))))))))))) :: ((Npos (XI
+    (XI (XI (XO (XO (XO (XI (XO (XO (XI (XI (XO (XI (XI (XO (XI (XO (XO (XI
+    (XI (XO (XI (XO (XO (XO (XI (XO (XI (XI (XI (XO
+    XH)))))))))))))))))))))))))))))))) :: ((Npos (XO (XO (XI (XO (XO (XO (XO
+    (XI (XO (XO (XI (XI (XI (XO (XI (XO (XO (XO (XO (XI (XO (XO (XI (XO (XI
+    (XO (XI (XO (XI (XI (XO XH)))))))))))))))))))))))))))))))) :: ((Npos (XO
+    (XI (XO (XO (XO (XI (XO (XO (XO (XO (XO (XO (XO (XO (XI (XO (XI (XI (XI
+    (XO (XI (XO (XO (XI (XO (XI (XI (XO (XO (XO (XO
+    XH)))))))))))))))))))))))))))))))) :: ((Npos (XO (XO (XI (XO (XI (XI (XO
+    (XO (XO (XI (XI (XI (XO (XO (XI (XO (XO (XO (XI (XO (XO (XO (XO (XI (XI
+    (XI (XI (XI (XI (XI XH))))))))))))))))))))))))))))))) :: ((Npos (XI (XO
+    (XI (XI (XI (XO (XI (XO (XO (XO (XO (XO (XI (XO (XO (XO (XO (XI (XI (XO
+    (XI (XO (XI (XO (XI (XO (XO (XO (XO (XO (XI
+    XH)))))))))))))))))))))))))))))))) :: ((Npos (XI (XO (XI (XI (XO (XI (XI
+    (XI (XO (XI (XO (XO (XO (XI (XO (XI (XO (XO (XI (XI (XO (XO (XI (XO (XO
+    (XO (XO (XO (XO (XO (XI XH)))))))))))))))))))))))))))))))) :: ((Npos (XO
+    (XO (XI (XI (XI (XO (XO (XI (XO (XO (XI (XI (XI (XO (XI (XI (XO (XO (XI
+    (XI (XI (XI (XI (XI (XO (XI (XO (XI (XI (XO (XI
+    XH)))))))))))))))))))))))))))))))) :: ((Npos (XI (XO (XI (XI (XI (XI (XO
+    (XO (XO (XI (XO (XI (XI (XO (XI (XO (XI (XI (XI (XI (XI (XO (XI (XI (XO
+    (XO (XO (XO (XO (XI (XO XH)))))))))))))))))))))))))))))))) :: ((Npos (XO
+    (XI (XI (XO (XI (XI (XI (XO (XO (XO (XO (XI (XI (XI (XI (XO (XI (XO (XI
+    (XI (XI (XO (XI (XI (XI (XO (XI (XI (XO (XO (XI
+    XH)))))))))))))))))))))))))))))))) :: ((Npos (XO (XI (XO (XI (XI (XO (XO
+    (XO (XI (XI (XI (XI (XO (XO (XI (XO (XO (XO (XI (XO (XO (XO (XO (XO (XI
+    (XO (XI (XO (XI (XI XH))))))))))))))))))))))))))))))) :: ((Npos (XI (XO
+    (XI (XI (XI (XO (XO (XO (XI (XI (XO (XO (XO (XI (XO (XO (XO (XO (XI (XO
+    (XI (XI (XO (XO (XI (XO (XO (XO (XI (XO (XI
+    XH)))))))))))))))))))))))))))))))) :: ((Npos (XO (XI (XO (XO (XO (XO (XI
+    (XI (XI (XI (XO (XO (XI (XO (XO (XI (XI (XI (XO (XO (XI (XO (XO (XI (XO
+    (XO (XI (XI (XO (XO (XO XH)))))))))))))))))))))))))))))))) :: ((Npos (XO
+    (XO (XO (XO (XI (XI (XO (XI (XO (XI (XI (XI (XI (XO (XI (XO (XI (XI (XO
+    (XI (XO (XO (XO (XI (XO (XO (XI (XI (XO
+    XH)))))))))))))))))))))))))))))) :: ((Npos (XO (XO (XI (XO (XO (XO (XI
+    (XO (XI (XO (XI (XO (XO (XO (XI (XI (XO (XI (XO (XI (XO (XI (XO (XI (XO
+    (XO (XI (XO (XI (XI XH))))))))))))))))))))))))))))))) :: ((Npos (XO (XI
+    (XO (XO (XI (XI (XO (XO (XO (XO (XO (XI (XO (XI (XO (XI (XI (XI (XO (XI
+    (XO (XI (XI (XO (XI (XO (XO (XO (XO (XO
+    XH))))))))))))))))))))))))))))))) :: ((Npos (XO (XI (XI (XI (XI (XI (XO
+    (XO (XO (XI (XO (XI (XO (XO (XI (XI (XI (XO (XI (XI (XO (XI (XO (XO (XI
+    (XO (XO (XO (XI (XO (XO XH)))))))))))))))))))))))))))))))) :: ((Npos (XI
+    (XO (XO (XO (XI (XI (XI (XI (XO (XO (XO (XI (XI (XO (XI (XO (XO (XI (XO
+    (XI (XI (XI (XO (XI (XO (XI (XI (XO (XO (XI (XI
+    XH)))))))))))))))))))))))))))))))) :: ((Npos (XI (XO (XI (XO (XO (XI (XI
+    (XO (XI (XO (XO (XO (XI (XO (XI (XO (XI (XO (XI (XO (XI (XO (XO (XI (XO
+    (XO (XO (XO (XI (XI XH))))))))))))))))))))))))))))))) :: ((Npos (XI (XO
+    (XI (XO (XI (XO (XO (XI (XO (XI (XO (XI (XO (XI (XI (XO (XI (XO (XO (XO
+    (XI (XI (XO (XI (XI (XO (XI (XI (XO (XI (XO
+    XH)))))))))))))))))))))))))))))))) :: ((Npos (XO (XO (XO (XO (XO (XO (XO
+    (XO (XI (XI (XO (XO (XO (XI (XO (XI (XO (XO (XO (XI (XO (XO (XO (XO (XO
+    (XO (XO (XI (XI (XI (XI XH)))))))))))))))))))))))))))))))) :: ((Npos (XI
+    (XI (XI (XI (XI (XI (XI (XI (XO (XI (XO (XI (XO (XI (XO (XO (XO (XI (XO
+    (XO (XO (XI (XI (XI (XI (XI (XO (XI (XO (XO
+    XH))))))))))))))))))))))))))))))) :: ((Npos (XO (XO (XI (XI (XI (XO (XO
+    (XO (XO (XI (XO (XO (XI (XO (XI (XI (XO (XI (XO (XO (XO (XI (XI (XI (XO
+    (XI (XO (XO (XO (XO (XI XH)))))))))))))))))))))))))))))))) :: ((Npos (XO
+    (XO (XO (XI (XI (XI (XI (XI (XI (XO (XI (XO (XI (XO (XO (XO (XO (XO (XI
+    (XI (XO (XI (XI (XO (XI (XI (XO (XI (XI (XO (XI
+    XH)))))))))))))))))))))))))))))))) :: ((Npos (XO (XO (XI (XI (XO (XI (XI
+    (XO (XI (XI (XI (XI (XO (XO (XI (XI (XO (XI (XI (XO (XI (XO (XO (XI (XO
+    (XO (XO (XI XH))))))))))))))))))))))))))))) :: ((Npos (XI (XO (XI (XI (XI
+    (XO (XO (XO (XO (XI (XI (XI (XO (XI (XO (XI (XI (XI (XI (XO (XO (XI (XI
+    (XI (XO (XO (XI (XO (XO (XO XH))))))))))))))))))))))))))))))) :: ((Npos
+    (XO (XI (XO (XI (XO (XO (XO (XO (XI (XO (XO (XO (XO (XO (XI (XI (XO (XI
+    (XI (XI (XI (XO (XI (XI (XI (XI (XO (XO (XO (XI (XI
+    XH)))))))))))))))))))))))))))))))) :: ((Npos (XI (XO (XO (XI (XO (XO (XO
+    (XI (XI (XI (XI (XI (XO (XI (XO (XI (XO (XO (XO (XI (XI (XO (XO (XI (XI
+    (XI (XI (XI (XI XH)))))))))))))))))))))))))))))) :: ((Npos (XI (XO (XI
+    (XO (XI (XI (XO (XI (XI (XO (XO (XI (XO (XI (XO (XO (XO (XI (XO (XI (XI
+    (XI (XI (XO (XO (XI (XI (XO (XI (XO (XI
+    XH)))))))))))))))))))))))))))))))) :: ((Npos (XI (XO (XO (XO (XI (XO (XI
+    (XI (XO (XI (XO (XO (XI (XO (XI (XO (XI (XO (XO (XI (XI (XI (XI (XI (XI
+    (XO (XI (XO (XI (XI XH))))))))))))))))))))))))))))))) :: ((Npos (XI (XI
+    (XI (XO (XO (XO (XO (XI (XO (XI (XO (XI (XI (XI (XI (XO (XI (XI (XO (XI
+    (XO (XI (XI (XI (XI (XI (XO (XI (XI (XI
+    XH))))))))))))))))))))))))))))))) :: ((Npos (XI (XO (XI (XO (XI (XO (XO
+    (XO (XO (XO (XI (XO (XI (XI (XI (XI (XO (XI (XO (XI (XI (XI (XO (XO (XI
+    (XI (XI (XO (XO (XO XH))))))))))))))))))))))))))))))) :: ((Npos (XI (XO
+    (XI (XO (XI (XI (XI (XI (XO (XI (XI (XO (XI (XI (XO (XO (XI (XO (XI (XO
+    (XO (XI (XI (XI (XI (XI (XI (XI (XI
+    XH)))))))))))))))))))))))))))))) :: ((Npos (XI (XI (XO (XI (XO (XO (XO
+    (XO (XI (XI (XI (XI (XI (XO (XI (XO (XO (XI (XO (XO (XI (XI (XO (XI (XI
+    (XO (XO (XO (XO (XI (XO XH)))))))))))))))))))))))))))))))) :: ((Npos (XI
+    (XI (XO (XO (XO (XI (XI (XI (XI (XO (XO (XO (XI (XI (XI (XO (XO (XO (XI
+    (XO (XI (XO (XI (XO (XI (XO (XO (XI (XO (XO (XI
+    XH)))))))))))))))))))))))))))))))) :: ((Npos (XI (XI (XI (XO (XI (XI (XO
+    (XO (XO (XO (XO (XO (XO (XO (XO (XI (XI (XI (XI (XI (XO (XI (XO (XO (XO
+    (XI (XO (XO (XO (XO (XO XH)))))))))))))))))))))))))))))))) :: ((Npos (XO
+    (XO (XO (XO (XI (XO (XI (XI (XO (XO (XI (XI (XI (XO (XO (XO (XO (XI (XO
+    (XO (XO (XO (XI (XI (XO (XO (XI (XI (XO
+    XH)))))))))))))))))))))))))))))) :: ((Npos (XI (XI (XI (XO (XI (XO (XI
+    (XO (XI (XI (XO (XI (XI (XO (XO (XO (XI (XI (XI (XI (XI (XO (XO (XO (XO
+    (XI (XO (XI (XI (XO (XO XH)))))))))))))))))))))))))))))))) :: ((Npos (XO
+    (XO (XO (XO (XO (XI (XO (XO (XI (XI (XO (XO (XO (XO (XI (XO (XO (XO (XO
+    (XO (XI (XO (XI (XO (XI (XO (XI (XI (XI (XI (XI
+    XH)))))))))))))))))))))))))))))))) :: ((Npos (XI (XI (XI (XO (XO (XI (XO
+    (XO (XI (XO (XO (XO (XI (XI (XI (XI (XO (XI (XO (XI (XI (XI (XO (XO (XI
+    (XO (XI (XI (XO (XI XH))))))))))))))))))))))))))))))) :: ((Npos (XO (XO
+    (XO (XO (XO (XO (XI (XO (XO (XO (XI (XO (XO (XI (XO (XO (XO (XO (XO (XO
+    (XI (XO (XO (XO (XI (XI (XI (XO (XO (XO
+    XH))))))))))))))))))))))))))))))) :: ((Npos (XO (XI (XI (XI (XI (XO (XO
+    (XO (XI (XO (XI (XO (XO (XO (XO (XO (XO (XI (XI (XI (XO (XI (XI (XO (XO
+    (XO (XO (XI (XI XH)))))))))))))))))))))))))))))) :: ((Npos (XO (XO (XO
+    (XO (XO (XI (XI (XI (XO (XI (XO (XI (XO (XO (XO (XI (XO (XO (XI (XI (XI
+    (XO (XI (XI XH))))))))))))))))))))))))) :: ((Npos (XI (XI (XO (XI (XO (XI
+    (XI (XO (XO (XO (XI (XI (XI (XI (XI (XO (XI (XO (XI (XO (XI (XI (XO (XO
+    (XI (XO (XI (XI (XI (XI (XO XH)))))))))))))))))))))))))))))))) :: ((Npos
+    (XO (XO (XO (XO (XI (XI (XI (XI (XO (XO (XI (XI (XO (XI (XO (XO (XI (XI
+    (XI (XI (XO (XO (XO (XI (XI (XI (XO (XO (XI (XO (XI
+    XH)))))))))))))))))))))))))))))))) :: ((Npos (XO (XO (XO (XI (XO (XI (XI
+    (XI (XO (XI (XI (XI (XI (XI (XI (XO (XI (XO (XI (XO (XO (XI (XI (XI (XI
+    (XO (XO (XO (XO (XI XH))))))))))))))))))))))))))))))) :: ((Npos (XO (XI
+    (XO (XO (XI (XO (XI (XI (XI (XO (XO (XO (XI (XO (XI (XI (XI (XO (XO (XI
+    (XO (XO (XO (XI (XI (XO (XO (XO (XI (XI
+    XH))))))))))))))))))))))))))))))) :: ((Npos (XO (XO (XI (XI (XI (XO (XO
+    (XI (XO (XO (XI (XO (XI (XI (XO (XO (XI (XI (XI (XI (XI (XO (XI (XO (XI
+    (XI (XO (XO (XI XH)))))))))))))))))))))))))))))) :: ((Npos (XO (XO (XO
+    (XO (XI (XI (XO (XO (XO (XI (XI (XO (XO (XI (XO (XI (XI (XI (XI (XI (XI
+    (XO (XI (XO (XI (XI (XO (XO (XO (XO (XI
+    XH)))))))))))))))))))))))))))))))) :: ((Npos (XO (XI (XI (XI (XI (XO (XO
+    (XI (XO (XO (XI (XO (XO (XI (XI (XO (XO (XI (XI (XO (XI (XO (XI (XO (XO
+    (XI (XI (XI (XI (XI (XI XH)))))))))))))))))))))))))))))))) :: ((Npos (XI
+    (XO (XI (XO (XO (XO (XO (XO (XO (XI (XO (XO (XI (XO (XO (XO (XI (XI (XO
+    (XO (XO (XI (XO (XO (XO (XI (XO (XI (XI (XI (XO
+    XH)))))))))))))))))))))))))))))))) :: ((Npos (XI (XO (XI (XI (XI (XO (XO
+    (XO (XI (XO (XO (XO (XI (XO (XI (XI (XO (XO (XO (XI (XI (XI (XO (XI (XI
+    (XI (XI (XO (XO XH)))))))))))))))))))))))))))))) :: ((Npos (XO (XI (XI
+    (XO (XO (XO (XI (XI (XI (XI (XO (XI (XO (XO (XO (XI (XI (XO (XI (XO (XO
+    (XI (XI (XO (XO (XI (XI (XO (XO
+    XH)))))))))))))))))))))))))))))) :: ((Npos (XI (XI (XO (XO (XO (XO (XO
+    (XI (XI (XO (XI (XI (XI (XI (XO (XI (XI (XI (XI (XI (XI (XI (XI (XO (XI
+    (XO (XI XH)))))))))))))))))))))))))))) :: ((Npos (XI (XI (XI (XO (XO (XI
+    (XI (XO (XO (XI (XI (XI (XI (XI (XI (XO (XO (XO (XO (XI (XI (XO (XI (XO
+    (XO (XI (XO (XO XH))))))))))))))))))))))))))))) :: ((Npos (XI (XI (XI (XI
+    (XI (XO (XO (XI (XI (XI (XI (XI (XI (XO (XO (XO (XI (XI (XO (XI (XO (XO
+    (XI (XO (XI (XI (XI (XO (XO (XO
+    XH))))))))))))))))))))))))))))))) :: ((Npos (XI (XI (XI (XI (XI (XI (XO
+    (XO (XO (XI (XO (XI (XI (XO (XI (XO (XI (XO (XI (XI (XI (XI (XO (XO (XO
+    (XI (XI (XI (XI (XI (XO XH)))))))))))))))))))))))))))))))) :: ((Npos (XI
+    (XO (XI (XI (XI (XI (XO (XO (XO (XI (XO (XO (XO (XI (XI (XO (XI (XO (XO
+    (XI (XO (XI (XO (XI (XO (XI (XI (XI (XO
+    XH)))))))))))))))))))))))))))))) :: ((Npos (XI (XO (XI (XO (XO (XI (XO
+    (XI (XI (XO (XO (XO (XO (XI (XI (XI (XI (XI (XI (XI (XI (XO (XI (XI (XI
+    (XI (XI (XI (XI (XO XH))))))))))))))))))))))))))))))) :: ((Npos (XO (XO
+    (XI (XI (XO (XO (XO (XO (XI (XI (XO (XO (XI (XI (XI (XO (XI (XO (XO (XO
+    (XO (XI (XO (XO (XO (XI (XI (XI (XO (XI
+    XH))))))))))))))))))))))))))))))) :: ((Npos (XO (XO (XI (XI (XI (XO (XI
+    (XI (XO (XI (XI (XO (XI (XI (XO (XI (XI (XI (XO (XO (XI (XO (XO (XI (XO
+    (XI (XO (XO (XI (XI (XI XH)))))))))))))))))))))))))))))))) :: ((Npos (XI
+    (XO (XO (XO (XO (XI (XI (XI (XI (XI (XO (XI (XO (XI (XO (XI (XO (XI (XI
+    (XO (XI (XO (XI (XO (XO (XI (XO (XI (XO (XI (XI
+    XH)))))))))))))))))))))))))))))))) :: ((Npos (XI (XI (XO (XO (XO (XI (XI
+    (XO (XI (XI (XO (XO (XO (XI (XI (XI (XO (XI (XI (XO (XI (XO (XO (XI (XO
+    (XI (XI (XO (XI (XO (XO XH)))))))))))))))))))))))))))))))) :: ((Npos (XI
+    (XI (XO (XO (XI (XI (XI (XI (XO (XI (XI (XI (XO (XI (XI (XO (XI (XO (XI
+    (XO (XI (XI (XO (XI (XI (XO (XI (XI (XO
+    XH)))))))))))))))))))))))))))))) :: ((Npos (XO (XO (XO (XO (XO (XO (XO
+    (XO (XO (XO (XO (XO (XO (XI (XO (XI (XI (XO (XO (XO (XI (XO (XO (XO (XO
+    (XI (XI (XI (XI (XI XH))))))))))))))))))))))))))))))) :: ((Npos (XO (XO
+    (XO (XO (XI (XI (XO (XI (XI (XO (XI (XO (XI (XI (XI (XO (XI (XO (XO (XO
+    (XO (XI (XI (XI (XI (XO (XI (XI (XI (XI (XI
+    XH)))))))))))))))))))))))))))))))) :: ((Npos (XO (XO (XI (XI (XO (XI (XI
+    (XO (XO (XI (XO (XO (XO (XI (XI (XO (XI (XI (XO (XI (XI (XO (XO (XO (XO
+    (XI (XI (XO (XO (XO (XI XH)))))))))))))))))))))))))))))))) :: ((Npos (XI
+    (XO (XO (XO (XI (XI (XO (XI (XO (XI (XI (XI (XO (XO (XI (XI (XO (XI (XO
+    (XO (XO (XI (XI (XI (XI (XO (XO (XO (XO
+    XH)))))))))))))))))))))))))))))) :: ((Npos (XI (XI (XO (XI (XO (XO (XI
+    (XO (XI (XI (XO (XO (XO (XO (XO (XO (XO (XO (XO (XI (XI (XI (XO (XI (XO
+    (XI (XI (XI (XI (XO (XI XH)))))))))))))))))))))))))))))))) :: ((Npos (XO
+    (XI (XO (XO (XO (XI (XO (XI (XI (XI (XO (XI (XO (XO (XO (XO (XO (XI (XI
+    (XI (XO (XO (XI (XO (XI (XI (XO (XI (XO (XI
+    XH))))))))))))))))))))))))))))))) :: ((Npos (XI (XI (XO (XI (XI (XO (XO
+    (XI (XI (XO (XO (XO (XO (XO (XI (XO (XI (XO (XO (XI (XO (XI (XO (XO (XI
+    (XI (XI (XI (XO (XI (XI XH)))))))))))))))))))))))))))))))) :: ((Npos (XO
+    (XI (XI (XI (XO (XI (XI (XI (XO (XO (XI (XO (XI (XO (XI (XI (XI (XI (XO
+    (XI XH))))))))))))))))))))) :: ((Npos (XO (XI (XI (XO (XO (XI (XO (XI (XI
+    (XO (XO (XO (XI (XI (XI (XI (XO (XI (XO (XI (XO (XI (XO (XI
+    XH))))))))))))))))))))))))) :: ((Npos (XO (XI (XI (XI (XI (XO (XI (XI (XO
+    (XO (XO (XI (XI (XO (XI (XO (XI (XO (XO (XO (XO (XI (XO (XI (XO (XO (XO
+    (XI (XI (XI XH))))))))))))))))))))))))))))))) :: ((Npos (XO (XO (XO (XI
+    (XO (XO (XI (XO (XO (XO (XO (XI (XI (XO (XO (XI (XI (XI (XO (XO (XI (XO
+    (XI (XI (XI (XI (XO (XO (XI XH)))))))))))))))))))))))))))))) :: ((Npos
+    (XO (XI (XO (XO (XO (XI (XO (XI (XO (XO (XO (XO (XO (XO (XO (XO (XI (XI
+    (XO (XO (XI (XI (XO (XI (XI (XO (XO (XI
+    XH))))))))))))))))))))))))))))) :: ((Npos (XI (XI (XI (XO (XI (XI (XO (XI
+    (XO (XO (XI (XO (XO (XO (XI (XO (XI (XO (XI (XO (XI (XO (XO (XO (XI (XO
+    (XI (XI (XI XH)))))))))))))))))))))))))))))) :: ((Npos (XI (XI (XO (XI
+    (XI (XI (XI (XI (XO (XO (XI (XI (XO (XO (XI (XI (XI (XI (XI (XI (XI (XI
+    (XI (XO (XO (XI (XI (XI (XO (XI
+    XH))))))))))))))))))))))))))))))) :: ((Npos (XI (XI (XI (XI (XI (XI (XO
+    (XI (XI (XI (XI (XO (XO (XO (XI (XO (XI (XO (XI (XO (XO (XO (XI (XO (XO
+    (XI (XO (XI (XO (XO (XI XH)))))))))))))))))))))))))))))))) :: ((Npos (XO
+    (XI (XI (XI (XI (XI (XI (XO (XI (XI (XO (XI (XO (XI (XI (XI (XO (XI (XO
+    (XO (XI (XI (XI (XO (XI (XO (XO (XI (XI (XO
+    XH))))))))))))))))))))))))))))))) :: ((Npos (XO (XO (XO (XI (XO (XO (XI
+    (XI (XO (XI (XO (XI (XI (XI (XI (XO (XI (XO (XO (XI (XI (XI (XI (XI (XI
+    (XI (XO (XO (XI (XI (XO XH)))))))))))))))))))))))))))))))) :: ((Npos (XI
+    (XI (XO (XI (XO (XI (XI (XO (XI (XI (XO (XO (XI (XI (XI (XI (XI (XI (XI
+    (XO (XO (XO (XO (XI (XO (XO (XO (XO (XI (XO
+    XH))))))))))))))))))))))))))))))) :: ((Npos (XI (XI (XI (XI (XI (XI (XI
+    (XI (XO (XO (XI (XO (XI (XI (XI (XO (XI (XI (XI (XO (XI (XO (XO (XI (XO
+    (XO (XO (XI (XI (XI (XO XH)))))))))))))))))))))))))))))))) :: ((Npos (XO
+    (XO (XI (XI (XO (XI (XI (XI (XO (XI (XO (XI (XI (XO (XI (XI (XO (XO (XO
+    (XO (XO (XI (XI (XI (XO (XO (XI (XO (XI (XI (XO
+    XH)))))))))))))))))))))))))))))))) :: ((Npos (XO (XI (XI (XO (XI (XI (XI
+    (XI (XI (XI (XO (XI (XI (XI (XI (XO (XI (XI (XO (XI (XO (XI (XO (XI (XI
+    (XI (XI (XO (XI (XO (XO XH)))))))))))))))))))))))))))))))) :: ((Npos (XI
+    (XI (XI (XO (XI (XO (XI (XO (XI (XO (XO (XO (XI (XI (XO (XI (XO (XI (XI
+    (XI (XI (XO (XI (XO (XI (XO (XO (XI (XO (XO
+    XH))))))))))))))))))))))))))))))) :: ((Npos (XO (XI (XI (XI (XO (XO (XO
+    (XO (XO (XI (XO (XO (XI (XO (XO (XI (XI (XI (XI (XO (XO (XI (XI (XO (XO
+    (XO (XO (XI (XO (XO (XI XH)))))))))))))))))))))))))))))))) :: ((Npos (XI
+    (XO (XO (XI (XI (XO (XO (XI (XO (XO (XI (XI (XO (XI (XO (XO (XI (XO (XO
+    (XI (XO (XO (XO (XI (XI (XO (XO XH)))))))))))))))))))))))))))) :: ((Npos
+    (XI (XO (XI (XO (XO (XI (XI (XI (XO (XI (XO (XO (XI (XO (XO (XO (XI (XO
+    (XI (XI (XO (XO (XI (XO (XI (XO (XI (XI
+    XH))))))))))))))))))))))))))))) :: ((Npos (XO (XI (XI (XO (XI (XI (XI (XI
+    (XI (XO (XO (XI (XO (XI (XO (XI (XI (XO (XI (XI (XO (XO (XO (XO (XO (XI
+    (XI (XI (XO (XI (XI XH)))))))))))))))))))))))))))))))) :: ((Npos (XO (XI
+    (XI (XO (XO (XO (XO (XI (XO (XO (XO (XI (XO (XI (XO (XI (XO (XO (XI (XO
+    (XI (XI (XI (XO (XI (XI (XO (XI (XI (XO (XI
+    XH)))))))))))))))))))))))))))))))) :: ((Npos (XI (XI (XO (XI (XO (XO (XI
+    (XO (XO (XI (XI (XI (XI (XI (XO (XI (XI (XI (XO (XI (XI (XO (XI (XI (XI
+    (XO (XI (XO (XI XH)))))))))))))))))))))))))))))) :: ((Npos (XO (XO (XO
+    (XI (XO (XO (XI (XI (XI (XO (XI (XO (XO (XO (XI (XI (XO (XO (XI (XO (XI
+    (XI (XO (XI (XO (XI (XO (XO (XI (XO (XI
+    XH)))))))))))))))))))))))))))))))) :: ((Npos (XI (XO (XO (XO (XI (XO (XI
+    (XO (XI (XO (XO (XO (XI (XO (XI (XI (XO (XI (XI (XO (XO (XO (XI (XO (XI
+    (XI (XO (XI (XO (XI XH))))))))))))))))))))))))))))))) :: ((Npos (XI (XO
+    (XI (XO (XI (XO (XI (XO (XI (XO (XI (XI (XO (XO (XI (XI (XO (XI (XO (XO
+    (XI (XO (XO (XO (XO (XI (XI (XI (XO
+    XH)))))))))))))))))))))))))))))) :: ((Npos (XO (XO (XO (XI (XO (XO (XI
+    (XO (XI (XO (XO (XI (XO (XO (XI (XI (XI (XO (XI (XO (XO (XI (XI (XO (XI
+    (XO (XI (XO (XI XH)))))))))))))))))))))))))))))) :: ((Npos (XI (XI (XO
+    (XO (XI (XI (XI (XO (XO (XI (XI (XI (XI (XI (XI (XI (XO (XO (XO (XO (XI
+    (XI (XO (XO (XI (XO (XO (XO (XI (XI
+    XH))))))))))))))))))))))))))))))) :: ((Npos (XO (XO (XI (XO (XI (XI (XI
+    (XI (XO (XI (XI (XO (XI (XI (XI (XO (XI (XO (XI (XO (XI (XO (XO (XI (XI
+    (XO (XO (XI (XI (XI (XI XH)))))))))))))))))))))))))))))))) :: ((Npos (XO
+    (XO (XO (XO (XI (XI (XO (XO (XI (XI (XO (XO (XI (XI (XO (XO (XO (XI (XO
+    (XO (XI (XO (XO (XO (XO (XI XH))))))))))))))))))))))))))) :: ((Npos (XI
+    (XI (XO (XI (XO (XO (XI (XI (XO (XI (XO (XI (XI (XI (XI (XO (XO (XO (XI
+    (XI (XI (XI (XI (XI (XI (XO (XI XH)))))))))))))))))))))))))))) :: ((Npos
+    (XI (XO (XO (XO (XI (XI (XI (XO (XO (XO (XI (XO (XO (XI (XO (XI (XO (XI
+    (XO (XI (XI (XI (XO (XI (XI (XO (XI (XI (XI (XI (XO
+    XH)))))))))))))))))))))))))))))))) :: ((Npos (XO (XO (XI (XI (XO (XO (XO
+    (XI (XO (XO (XI (XO (XO (XI (XO (XO (XO (XO (XI (XO (XO (XI (XO (XO (XO
+    (XI (XI (XI (XI (XI (XO XH)))))))))))))))))))))))))))))))) :: ((Npos (XI
+    (XO (XI (XO (XO (XI (XI (XI (XI (XI (XI (XO (XO (XO (XI (XI (XI (XI (XO
+    (XO (XI (XO (XI (XO (XI (XI (XI (XI
+    XH))))))))))))))))))))))))))))) :: ((Npos (XI (XO (XO (XI (XI (XI (XO (XO
+    (XI (XO (XO (XI (XO (XO (XO (XI (XI (XI (XO (XO (XI (XI (XO (XI (XO (XO
+    (XI (XI (XO (XO XH))))))))))))))))))))))))))))))) :: ((Npos (XO (XI (XI
+    (XO (XO (XO (XI (XO (XI (XO (XI (XI (XI (XO (XO (XO (XI (XI (XO (XI (XO
+    (XI (XO (XO (XI (XI (XO (XI XH))))))))))))))))))))))))))))) :: ((Npos (XI
+    (XI (XI (XO (XO (XO (XO (XI (XO (XI (XO (XO (XI (XI (XI (XO (XI (XO (XO
+    (XI (XO (XI (XI (XO (XI (XI (XI (XI (XO (XI
+    XH))))))))))))))))))))))))))))))) :: ((Npos (XO (XI (XO (XO (XI (XO (XO
+    (XO (XI (XI (XO (XO (XO (XI (XI (XI (XO (XI (XI (XI (XI (XI (XI (XI (XO
+    (XI (XI (XO (XI XH)))))))))))))))))))))))))))))) :: ((Npos (XO (XI (XI
+    (XO (XI (XO (XI (XO (XI (XI (XO (XO (XO (XI (XI (XI (XO (XO (XI (XI (XI
+    (XO (XO (XO (XI (XI (XI (XO (XO (XI (XI
+    XH)))))))))))))))))))))))))))))))) :: ((Npos (XO (XI (XO (XO (XO (XO (XO
+    (XI (XO (XI (XI (XI (XO (XO (XO (XI (XI (XO (XI (XI (XI (XI (XI (XI (XI
+    (XI (XO (XI (XO (XO (XI XH)))))))))))))))))))))))))))))))) :: ((Npos (XI
+    (XI (XI (XI (XI (XO (XO (XO (XO (XI (XO (XI (XI (XI (XO (XO (XI (XO (XI
+    (XI (XO (XO (XI (XO (XO (XO (XI (XO (XI (XO
+    XH))))))))))))))))))))))))))))))) :: ((Npos (XO (XO (XO (XO (XI (XO (XO
+    (XO (XO (XO (XO (XI (XO (XI (XI (XI (XI (XI (XO (XI (XI (XI (XI (XO (XI
+    (XO (XI (XO (XI (XI XH))))))))))))))))))))))))))))))) :: ((Npos (XO (XI
+    (XI (XO (XO (XI (XO (XI (XO (XO (XI (XO (XI (XO (XI (XO (XI (XI (XI (XI
+    (XI (XI (XI (XO (XO (XI (XI (XO (XI (XI (XO
+    XH)))))))))))))))))))))))))))))))) :: ((Npos (XO (XO (XO (XI (XI (XO (XI
+    (XI (XI (XI (XO (XO (XO (XO (XI (XO (XI (XO (XO (XO (XO (XO (XO (XI (XI
+    (XO (XO (XO (XI XH)))))))))))))))))))))))))))))) :: ((Npos (XI (XO (XI
+    (XO (XI (XI (XO (XO (XI (XO (XI (XI (XI (XO (XO (XO (XO (XI (XO (XO (XO
+    (XO (XI (XO (XO (XO (XO (XI (XO (XI (XO
+    XH)))))))))))))))))))))))))))))))) :: ((Npos (XO (XI (XI (XO (XO (XI (XI
+    (XO (XI (XO (XO (XI (XI (XI (XO (XI (XO (XO (XI (XO (XI (XI (XI (XI (XI
+    (XO (XO XH)))))))))))))))))))))))))))) :: ((Npos (XO (XO (XI (XO (XO (XI
+    (XI (XO (XO (XO (XI (XI (XI (XO (XI (XO (XO (XI (XO (XO (XI (XO (XI (XO
+    (XO (XO (XO (XO (XO (XO XH))))))))))))))))))))))))))))))) :: ((Npos (XI
+    (XI (XO (XO (XO (XO (XO (XI (XI (XI (XI (XI (XO (XI (XI (XO (XI (XO (XO
+    (XO (XI (XI (XI (XI (XO (XI (XO (XI (XI (XI (XI
+    XH)))))))))))))))))))))))))))))))) :: ((Npos (XO (XO (XI (XI (XO (XI (XO
+    (XI (XO (XO (XO (XO (XO (XO (XO (XO (XI (XO (XI (XO (XI (XI (XO (XO (XO
+    (XI (XI (XO (XI (XO (XI XH)))))))))))))))))))))))))))))))) :: ((Npos (XO
+    (XI (XO (XI (XI (XI (XO (XI (XO (XI (XI (XO (XI (XI (XI (XI (XO (XO (XI
+    (XO (XI (XO (XO (XI (XI (XO (XO (XI
+    XH))))))))))))))))))))))))))))) :: ((Npos (XO (XI (XI (XI (XI (XI (XI (XI
+    (XI (XI (XO (XO (XI (XI (XO (XI (XI (XO (XI (XI (XO (XI (XO (XO (XO (XI
+    (XI (XO XH))))))))))))))))))))))))))))) :: ((Npos (XO (XI (XO (XI (XI (XI
+    (XO (XO (XO (XO (XO (XO (XO (XO (XI (XO (XO (XO (XI (XI (XO (XO (XO (XO
+    (XO (XI (XO (XI (XO (XI XH))))))))))))))))))))))))))))))) :: ((Npos (XI
+    (XI (XI (XO (XO (XI (XI (XO (XI (XI (XI (XI (XI (XI (XI (XI (XI (XI (XO
+    (XI (XO (XI (XI (XO (XI (XO (XI (XO (XO (XO (XI
+    XH)))))))))))))))))))))))))))))))) :: ((Npos (XO (XO (XI (XO (XO (XI (XO
+    (XI (XI (XI (XI (XI (XI (XO (XO (XO (XO (XI (XI (XI (XO (XI (XO (XO (XO
+    (XO (XI XH)))))))))))))))))))))))))))) :: ((Npos (XO (XO (XO (XO (XO (XO
+    (XI (XI (XI (XI (XI (XO (XO (XI (XI (XO (XI (XI (XI (XO (XI (XI (XI (XI
+    (XO (XI (XO (XI XH))))))))))))))))))))))))))))) :: ((Npos (XO (XI (XI (XI
+    (XO (XI (XO (XO (XI (XI (XO (XI (XI (XO (XI (XI (XO (XO (XI (XI (XO (XI
+    (XI (XI (XO (XI (XI (XO (XO (XI (XO
+    XH)))))))))))))))))))))))))))))))) :: ((Npos (XO (XO (XI (XO (XI (XI (XO
+    (XO (XI (XO (XO (XI (XI (XI (XO (XI (XO (XI (XO (XO (XO (XO (XO (XI (XO
+    (XI (XI (XI (XI (XO (XI XH)))))))))))))))))))))))))))))))) :: ((Npos (XI
+    (XI (XI (XO (XI (XI (XO (XI (XO (XO (XI (XI (XI (XO (XI (XI (XI (XO (XI
+    (XI (XI (XO (XO (XI (XI (XO (XO (XI (XO (XO
+    XH))))))))))))))))))))))))))))))) :: ((Npos (XO (XO (XI (XO (XO (XO (XO
+    (XI (XI (XI (XO (XO (XO (XI (XO (XI (XO (XO (XO (XI (XI (XI (XO (XO (XI
+    (XO (XO (XI (XO (XI XH))))))))))))))))))))))))))))))) :: ((Npos (XO (XO
+    (XI (XO (XI (XI (XO (XO (XO (XO (XO (XI (XO (XO (XO (XI (XO (XI (XO (XI
+    (XI (XI (XO (XO (XI (XO (XI (XI (XI (XI (XO
+    XH)))))))))))))))))))))))))))))))) :: ((Npos (XI (XI (XO (XI (XO (XI (XO
+    (XO (XI (XO (XI (XI (XI (XI (XO (XI (XO (XI (XO (XI (XO (XO (XI (XO (XO
+    (XO (XO (XO (XO (XI (XI XH)))))))))))))))))))))))))))))))) :: ((Npos (XO
+    (XO (XO (XI (XI (XI (XI (XO (XO (XI (XI (XI (XO (XO (XI (XO (XO (XO (XO
+    (XO (XI (XO (XO (XO (XI (XO (XI (XI (XI (XI (XO
+    XH)))))))))))))))))))))))))))))))) :: ((Npos (XO (XI (XO (XI (XI (XI (XO
+    (XI (XO (XI (XI (XO (XI (XO (XI (XI (XO (XI (XO (XI (XI (XO (XI (XO (XO
+    (XI (XO (XI XH))))))))))))))))))))))))))))) :: ((Npos (XO (XI (XI (XO (XI
+    (XI (XO (XO (XI (XI (XO (XO (XI (XO (XO (XI (XO (XI (XO (XO (XI (XO (XI
+    (XI (XI (XI (XO XH)))))))))))))))))))))))))))) :: ((Npos (XI (XO (XI (XI
+    (XO (XI (XI (XO (XI (XI (XI (XO (XO (XO (XO (XO (XI (XO (XI (XI (XI (XI
+    (XO (XI (XO XH)))))))))))))))))))))))))) :: ((Npos (XI (XI (XI (XO (XO
+    (XI (XO (XO (XO (XO (XI (XO (XI (XI (XI (XI (XI (XI (XO (XI (XO (XI (XI
+    (XI (XO (XI (XI (XI (XO (XO XH))))))))))))))))))))))))))))))) :: ((Npos
+    (XI (XI (XI (XO (XI (XI (XO (XO (XO (XO (XO (XO (XO (XO (XO (XO (XI (XI
+    (XI (XO (XI (XI (XI (XI (XO (XO (XI (XI (XO (XI (XO
+    XH)))))))))))))))))))))))))))))))) :: ((Npos (XO (XO (XO (XI (XO (XO (XO
+    (XO (XI (XO (XI (XO (XI (XO (XO (XI (XO (XI (XI (XO (XI (XI (XI (XO (XO
+    (XO (XO (XI (XO XH)))))))))))))))))))))))))))))) :: ((Npos (XI (XI (XO
+    (XO (XI (XI (XI (XI (XI (XI (XI (XI (XI (XI (XI (XI (XI (XO (XO (XI (XI
+    (XI (XO (XO (XI (XI (XO (XO (XO (XI (XI
+    XH)))))))))))))))))))))))))))))))) :: ((Npos (XI (XO (XI (XO (XI (XI (XO
+    (XO (XO (XI (XI (XO (XI (XI (XO (XO (XO (XO (XO (XO (XI (XI (XO (XO
+    XH))))))))))))))))))))))))) :: ((Npos (XI (XO (XI (XI (XI (XI (XI (XI (XO
+    (XI (XI (XO (XI (XO (XO (XI (XI (XI (XO (XI (XI (XI (XO (XI (XO (XI (XO
+    (XO (XO (XO XH))))))))))))))))))))))))))))))) :: ((Npos (XO (XI (XO (XO
+    (XI (XO (XI (XO (XI (XO (XO (XI (XI (XO (XI (XI (XI (XI (XI (XO (XI (XI
+    (XI (XI (XO (XO (XO (XI (XI (XO (XI
+    XH)))))))))))))))))))))))))))))))) :: ((Npos (XO (XO (XO (XI (XI (XO (XO
+    (XO (XI (XO (XI (XI (XI (XO (XO (XI (XO (XI (XO (XI (XI (XO (XI (XO (XI
+    (XI (XO (XO (XI (XO (XI XH)))))))))))))))))))))))))))))))) :: ((Npos (XO
+    (XI (XI (XO (XI (XO (XO (XO (XI (XO (XI (XO (XI (XI (XI (XO (XO (XO (XO
+    (XI (XI (XO (XI (XO (XI (XO (XI (XI (XI (XI
+    XH))))))))))))))))))))))))))))))) :: ((Npos (XO (XI (XI (XO (XI (XO (XI
+    (XI (XI (XO (XO (XI (XO (XO (XO (XO (XI (XI (XO (XO (XI (XO (XO (XI (XO
+    (XO (XO (XI (XO (XI (XO XH)))))))))))))))))))))))))))))))) :: ((Npos (XI
+    (XI (XI (XO (XO (XI (XI (XO (XI (XI (XI (XI (XO (XI (XO (XO (XI (XI (XI
+    (XO (XO (XO (XI (XI (XO (XI (XI (XO (XI (XO (XI
+    XH)))))))))))))))))))))))))))))))) :: ((Npos (XO (XO (XO (XO (XO (XO (XI
+    (XI (XO (XI (XI (XO (XI (XO (XI (XI (XI (XI (XI (XO (XI (XI (XI (XO (XO
+    (XI (XI (XO (XI (XI (XI
+    XH)))))))))))))))))))))))))))))))) :: [])))))))))))))))))))))))))))))))))))))))))))))))))))))))))))))))))))))))))))))))))))))))))))))))))))))))))))))))))))))))))))))))))))))))))))))))))))))))))))))))))))))))))))))))))))))))))))))))))))))))))))))))))))))))))))))))))))))))))))))))))))))))))))))))
+
+(** val v2 : n list **)
+
+let v2 =
+  (Npos (XO (XO (XI (XO (XO (XO (XO (XO (XI (XI (XO (XI (XI (XI (XO (XO (XI
+    (XO (XI (XO (XO (XI (XO (XO (XI (XO (XO (XO (XO (XI
+    XH))))))))))))))))))))))))))))))) :: ((Npos (XO (XO (XO (XO (XI (XO (XO
+    (XI (XO (XO (XO (XI (XI (XI (XO (XO (XI (XI (XI (XO (XI (XO (XI (XI (XO
+    (XO (XO (XO XH))))))))))))))))))))))))))))) :: ((Npos (XO (XI (XI (XI (XI
+    (XO (XO (XI (XO (XI (XI (XO (XI (XI (XI (XI (XI (XO (XO (XO (XI (XO (XO
+    (XI (XO (XI (XI (XO (XO (XI (XO
+    XH)))))))))))))))))))))))))))))))) :: ((Npos (XO (XI (XI (XI (XI (XO (XI
+    (XI (XI (XI (XI (XI (XO (XO (XO (XO (XO (XO (XO (XI (XI (XO (XO (XI (XI
+    (XO (XI (XI XH))))))))))))))))))))))))))))) :: ((Npos (XO (XI (XO (XI (XI
+    (XO (XI (XI (XO (XI (XO (XO (XI (XO (XI (XO (XI (XI (XI (XI (XI (XI (XO
+    (XO (XO (XI (XO (XO (XI (XI (XO
+    XH)))))))))))))))))))))))))))))))) :: ((Npos (XI (XI (XO (XI (XI (XO (XO
+    (XO (XI (XO (XO (XO (XI (XI (XO (XO (XI (XI (XI (XO (XO (XO (XO (XO (XI
+    (XI (XI (XO (XI (XI (XO XH)))))))))))))))))))))))))))))))) :: ((Npos (XI
+    (XI (XI (XI (XO (XI (XO (XO (XO (XO (XI (XO (XI (XO (XO (XO (XO (XI (XO
+    (XI (XO (XO (XO (XI (XI (XO (XO (XI (XI (XO (XO
+    XH)))))))))))))))))))))))))))))))) :: ((Npos (XO (XO (XI (XO (XO (XI (XO
+    (XO (XO (XI (XI (XI (XO (XO (XO (XO (XO (XI (XO (XO (XI (XO (XO (XO (XO
+    (XO (XI (XO (XI (XI (XI XH)))))))))))))))))))))))))))))))) :: ((Npos (XO
+    (XI (XO (XO (XO (XO (XO (XI (XO (XI (XI (XI (XO (XI (XO (XO (XO (XI (XO
+    (XO (XI (XI (XI (XO (XI (XO (XI (XO (XO (XI (XO
+    XH)))))))))))))))))))))))))))))))) :: ((Npos (XO (XO (XO (XO (XO (XI (XI
+    (XO (XO (XI (XI (XI (XO (XI (XI (XI (XI (XI (XI (XO (XO (XI (XO (XO (XI
+    (XI (XO (XO (XI (XI (XI XH)))))))))))))))))))))))))))))))) :: ((Npos (XI
+    (XO (XI (XO (XI (XI (XO (XO (XO (XO (XI (XI (XI (XI (XI (XI (XI (XO (XI
+    (XI (XI (XI (XI (XO (XO (XI (XO XH)))))))))))))))))))))))))))) :: ((Npos
+    (XI (XI (XI (XI (XO (XO (XO (XI (XO (XO (XI (XI (XO (XI (XI (XI (XO (XI
+    (XO (XO (XO (XI (XI (XI (XI (XO (XI (XO (XO (XO (XO
+    XH)))))))))))))))))))))))))))))))) :: ((Npos (XI (XI (XI (XI (XO (XI (XO
+    (XO (XI (XI (XI (XI (XI (XO (XO (XO (XI (XO (XI (XO (XI (XI (XI (XO (XO
+    (XI (XI (XI (XI (XO (XI XH)))))))))))))))))))))))))))))))) :: ((Npos (XI
+    (XI (XO (XO (XO (XO (XI (XO (XO (XI (XO (XI (XO (XI (XO (XO (XI (XO (XO
+    (XO (XI (XI (XI (XI (XO (XI (XO (XO (XO (XO (XO
+    XH)))))))))))))))))))))))))))))))) :: ((Npos (XO (XI (XI (XI (XI (XO (XO
+    (XI (XO (XI (XI (XO (XI (XI (XI (XO (XO (XI (XI (XO (XO (XI (XI (XI (XI
+    (XO (XI (XI (XO (XO XH))))))))))))))))))))))))))))))) :: ((Npos (XO (XO
+    (XI (XI (XO (XO (XO (XI (XO (XO (XI (XI (XO (XO (XI (XO (XO (XO (XI (XI
+    (XI (XO (XO (XI (XO (XO (XO (XI (XI (XI (XI
+    XH)))))))))))))))))))))))))))))))) :: ((Npos (XI (XO (XO (XO (XI (XO (XO
+    (XI (XO (XI (XI (XO (XO (XO (XO (XI (XI (XI (XO (XO (XO (XO (XI (XI (XO
+    (XO (XO (XO (XI (XI (XI XH)))))))))))))))))))))))))))))))) :: ((Npos (XI
+    (XO (XI (XI (XO (XO (XO (XO (XI (XI (XI (XO (XI (XO (XO (XI (XI (XI (XI
+    (XI (XO (XO (XI (XO (XI (XI (XI (XI (XI (XI (XO
+    XH)))))))))))))))))))))))))))))))) :: ((Npos (XI (XO (XI (XI (XO (XO (XO
+    (XO (XO (XO (XI (XO (XO (XI (XO (XO (XI (XO (XO (XI (XO (XI (XI (XI (XI
+    (XO (XO (XI (XO (XO (XI XH)))))))))))))))))))))))))))))))) :: ((Npos (XI
+    (XO (XI (XI (XI (XI (XO (XO (XO (XI (XO (XI (XO (XO (XI (XI (XI (XI (XI
+    (XO (XI (XI (XI (XO (XI (XO (XO (XO
+    XH))))))))))))))))))))))))))))) :: ((Npos (XI (XI (XI (XO (XO (XO (XI (XI
+    (XI (XO (XO (XI (XI (XO (XO (XI (XI (XI (XO (XI (XO (XI (XO (XO (XO (XI
+    (XO (XI (XI (XO (XI XH)))))))))))))))))))))))))))))))) :: ((Npos (XO (XO
+    (XI (XI (XI (XO (XO (XO (XO (XO (XO (XO (XO (XO (XO (XO (XO (XO (XI (XI
+    (XI (XO (XI (XI (XI (XO (XI (XI (XI (XO (XO
+    XH)))))))))))))))))))))))))))))))) :: ((Npos (XI (XI (XO (XI (XO (XO (XI
+    (XI (XO (XI (XO (XO (XI (XI (XO (XO (XO (XI (XO (XO (XO (XI (XI (XI (XO
+    (XI (XI (XO (XI (XO (XO XH)))))))))))))))))))))))))))))))) :: ((Npos (XO
+    (XO (XI (XO (XI (XI (XI (XO (XI (XO (XO (XO (XO (XO (XI (XI (XI (XI (XI
+    (XI (XI (XO (XI (XI (XO (XI (XO (XO (XI (XO (XI
+    XH)))))))))))))))))))))))))))))))) :: ((Npos (XI (XI (XO (XO (XI (XO (XO
+    (XO (XI (XI (XO (XO (XO (XO (XI (XI (XO (XO (XO (XI (XI (XO (XO (XO (XO
+    (XI (XI (XI (XO XH)))))))))))))))))))))))))))))) :: ((Npos (XI (XO (XI
+    (XI (XO (XO (XO (XI (XO (XO (XI (XO (XI (XO (XI (XO (XI (XO (XI (XI (XO
+    (XI (XI (XO (XI (XO (XO (XI (XI (XI (XI
+    XH)))))))))))))))))))))))))))))))) :: ((Npos (XI (XO (XI (XI (XO (XO (XI
+    (XI (XO (XI (XI (XO (XO (XO (XO (XO (XO (XI (XO (XI (XO (XO (XO (XI (XI
+    (XI (XO (XI (XO (XI XH))))))))))))))))))))))))))))))) :: ((Npos (XI (XI
+    (XO (XO (XI (XI (XI (XO (XI (XO (XO (XI (XI (XO (XO (XO (XI (XO (XO (XO
+    (XO (XO (XO (XI (XI (XI (XI (XO (XO (XO (XI
+    XH)))))))))))))))))))))))))))))))) :: ((Npos (XI (XI (XI (XI (XO (XO (XI
+    (XI (XO (XO (XI (XO (XI (XO (XO (XO (XI (XI (XO (XO (XO (XI (XI (XO (XI
+    (XI (XI (XI (XO (XO (XI XH)))))))))))))))))))))))))))))))) :: ((Npos (XO
+    (XI (XI (XI (XI (XI (XO (XO (XI (XI (XO (XO (XO (XO (XI (XO (XI (XO (XO
+    (XI (XO (XI (XO (XI (XO (XO (XI (XI (XO (XI (XI
+    XH)))))))))))))))))))))))))))))))) :: ((Npos (XO (XI (XO (XO (XO (XI (XI
+    (XO (XI (XI (XI (XO (XO (XO (XO (XI (XI (XO (XO (XO (XO (XO (XI (XI (XO
+    (XO (XO (XO (XI (XI XH))))))))))))))))))))))))))))))) :: ((Npos (XO (XI
+    (XO (XO (XO (XO (XO (XO (XI (XI (XI (XI (XI (XO (XI (XI (XO (XO (XI (XO
+    (XO (XI (XO (XO (XI (XO (XI (XI (XO (XO (XO
+    XH)))))))))))))))))))))))))))))))) :: ((Npos (XI (XI (XO (XO (XI (XO (XI
+    (XO (XO (XO (XO (XO (XI (XO (XI (XO (XI (XI (XO (XI (XI (XO (XI (XI (XO
+    (XI (XO (XO (XI (XO (XI XH)))))))))))))))))))))))))))))))) :: ((Npos (XO
+    (XI (XO (XI (XO (XO (XO (XO (XI (XI (XO (XO (XO (XO (XI (XI (XI (XO (XO
+    (XI (XI (XI (XI (XI (XO (XO (XO (XO (XI (XI (XO
+    XH)))))))))))))))))))))))))))))))) :: ((Npos (XO (XI (XI (XI (XO (XI (XO
+    (XI (XO (XO (XI (XI (XO (XO (XO (XO (XO (XO (XI (XI (XO (XI (XO (XO (XO
+    (XO (XI (XI (XI (XI (XI XH)))))))))))))))))))))))))))))))) :: ((Npos (XI
+    (XI (XI (XI (XO (XO (XO (XO (XO (XI (XO (XO (XO (XI (XI (XI (XI (XO (XI
+    (XO (XI (XO (XO (XI (XI (XO (XO (XO (XI
+    XH)))))))))))))))))))))))))))))) :: ((Npos (XI (XI (XO (XO (XI (XI (XO
+    (XI (XI (XO (XI (XO (XI (XO (XI (XO (XI (XO (XI (XI (XI (XI (XI (XI (XO
+    (XI (XI (XI (XO (XI (XO XH)))))))))))))))))))))))))))))))) :: ((Npos (XO
+    (XO (XI (XI (XI (XO (XO (XO (XI (XO (XI (XO (XO (XO (XI (XI (XO (XO (XI
+    (XI (XI (XI (XO (XI (XI (XI (XI XH)))))))))))))))))))))))))))) :: ((Npos
+    (XI (XI (XO (XO (XO (XO (XO (XO (XI (XO (XO (XO (XI (XO (XO (XO (XO (XO
+    (XI (XO (XI (XI (XO (XO (XI (XI XH))))))))))))))))))))))))))) :: ((Npos
+    (XO (XO (XI (XI (XI (XI (XO (XO (XI (XI (XO (XI (XI (XO (XO (XO (XI (XO
+    (XO (XO (XO (XO (XI (XI (XO (XI (XI (XI (XI (XI (XO
+    XH)))))))))))))))))))))))))))))))) :: ((Npos (XI (XI (XI (XO (XI (XO (XO
+    (XO (XO (XI (XO (XI (XO (XI (XO (XI (XI (XI (XI (XI (XO (XI (XO (XO (XI
+    (XO (XI (XO XH))))))))))))))))))))))))))))) :: ((Npos (XI (XO (XI (XO (XI
+    (XI (XI (XI (XI (XO (XI (XO (XI (XO (XI (XI (XO (XI (XI (XI (XI (XO (XI
+    (XI (XO (XO (XO (XI (XO (XO (XO
+    XH)))))))))))))))))))))))))))))))) :: ((Npos (XO (XO (XO (XI (XO (XI (XI
+    (XI (XI (XI (XI (XO (XO (XO (XI (XI (XI (XI (XO (XI (XI (XO (XI (XO (XI
+    (XO (XI (XI (XI (XO XH))))))))))))))))))))))))))))))) :: ((Npos (XO (XO
+    (XO (XO (XI (XO (XI (XO (XO (XO (XO (XI (XO (XI (XI (XO (XI (XO (XO (XI
+    (XO (XI (XI (XI (XO (XO (XO (XI (XO (XI
+    XH))))))))))))))))))))))))))))))) :: ((Npos (XI (XO (XI (XO (XO (XI (XO
+    (XI (XI (XO (XI (XI (XO (XO (XI (XO (XO (XI (XO (XO (XI (XI (XO (XO
+    XH))))))))))))))))))))))))) :: ((Npos (XO (XO (XI (XO (XO (XO (XO (XI (XI
+    (XI (XO (XO (XI (XI (XI (XO (XI (XO (XI (XO (XO (XO (XI (XO (XO (XO (XI
+    (XI (XO (XO (XI XH)))))))))))))))))))))))))))))))) :: ((Npos (XO (XO (XO
+    (XO (XI (XI (XO (XI (XI (XI (XO (XO (XO (XI (XO (XI (XO (XI (XO (XO (XO
+    (XI (XI (XI (XO (XI (XO (XI (XO (XI (XO
+    XH)))))))))))))))))))))))))))))))) :: ((Npos (XI (XO (XI (XO (XI (XI (XI
+    (XO (XO (XO (XI (XO (XO (XI (XO (XI (XO (XO (XI (XI (XI (XO (XO (XI (XO
+    (XO (XI (XI (XO (XO (XO XH)))))))))))))))))))))))))))))))) :: ((Npos (XI
+    (XI (XO (XO (XI (XI (XI (XI (XI (XI (XI (XO (XI (XO (XI (XI (XI (XI (XI
+    (XO (XI (XI (XO (XI (XO (XO (XO (XI (XI (XI
+    XH))))))))))))))))))))))))))))))) :: ((Npos (XO (XI (XI (XI (XI (XO (XI
+    (XI (XO (XI (XO (XI (XO (XO (XO (XO (XO (XO (XI (XI (XI (XO (XI (XI (XO
+    (XI (XI (XO (XO (XI XH))))))))))))))))))))))))))))))) :: ((Npos (XO (XI
+    (XI (XI (XO (XI (XI (XI (XI (XO (XI (XI (XI (XI (XO (XO (XI (XO (XO (XO
+    (XI (XI (XI (XO (XI (XI (XI (XO (XO (XO (XI
+    XH)))))))))))))))))))))))))))))))) :: ((Npos (XI (XI (XI (XI (XO (XI (XO
+    (XI (XI (XI (XI (XI (XO (XI (XO (XI (XI (XO (XO (XO (XO (XI (XI (XO (XO
+    (XO (XO (XO (XO (XI (XO XH)))))))))))))))))))))))))))))))) :: ((Npos (XO
+    (XO (XI (XO (XI (XI (XI (XI (XO (XI (XI (XI (XO (XO (XO (XO (XI (XI (XO
+    (XO (XI (XI (XI (XI (XI (XO XH))))))))))))))))))))))))))) :: ((Npos (XI
+    (XO (XO (XI (XO (XI (XO (XO (XI (XO (XI (XO (XO (XO (XI (XO (XI (XI (XO
+    (XI (XI (XI (XO (XO (XI (XO (XI (XI (XI (XI (XI
+    XH)))))))))))))))))))))))))))))))) :: ((Npos (XO (XI (XO (XO (XI (XO (XI
+    (XO (XO (XO (XO (XO (XI (XI (XO (XI (XI (XO (XI (XO (XI (XO (XI (XO (XO
+    (XI (XI (XO (XO (XO (XO XH)))))))))))))))))))))))))))))))) :: ((Npos (XO
+    (XI (XI (XO (XO (XO (XO (XO (XI (XI (XO (XI (XI (XI (XI (XO (XI (XI (XI
+    (XO (XO (XI (XO (XO (XI (XI (XO (XO (XO (XO (XI
+    XH)))))))))))))))))))))))))))))))) :: ((Npos (XO (XO (XO (XI (XI (XI (XI
+    (XO (XI (XO (XO (XO (XO (XI (XO (XO (XI (XO (XI (XO (XO (XI (XO (XI (XI
+    (XI (XO (XO (XO XH)))))))))))))))))))))))))))))) :: ((Npos (XI (XI (XO
+    (XO (XI (XI (XI (XO (XI (XO (XO (XO (XO (XO (XO (XO (XI (XO (XI (XI (XO
+    (XI (XO (XI (XO (XO (XI (XO (XO (XO (XI
+    XH)))))))))))))))))))))))))))))))) :: ((Npos (XO (XI (XO (XO (XI (XO (XO
+    (XO (XO (XI (XO (XI (XI (XI (XO (XI (XO (XO (XI (XI (XO (XI (XO (XO (XI
+    (XO (XO (XO (XO XH)))))))))))))))))))))))))))))) :: ((Npos (XO (XO (XO
+    (XO (XO (XO (XI (XI (XI (XI (XO (XI (XI (XO (XO (XO (XO (XI (XO (XO (XO
+    (XI (XO (XI (XI (XO (XI (XO (XI (XI (XI
+    XH)))))))))))))))))))))))))))))))) :: ((Npos (XI (XI (XI (XI (XO (XI (XI
+    (XI (XO (XI (XI (XI (XO (XI (XI (XI (XI (XI (XO (XI (XO (XI (XO (XI (XO
+    (XO (XI (XI (XO (XI (XO XH)))))))))))))))))))))))))))))))) :: ((Npos (XO
+    (XO (XI (XO (XO (XI (XI (XO (XI (XI (XO (XO (XI (XI (XO (XI (XO (XI (XI
+    (XO (XO (XO (XI (XI (XI (XI (XI (XO (XI (XO (XI
+    XH)))))))))))))))))))))))))))))))) :: ((Npos (XI (XO (XI (XI (XI (XI (XI
+    (XO (XI (XO (XI (XI (XI (XI (XI (XO (XO (XI (XI (XI (XI (XI (XO (XI (XO
+    (XI (XI (XO (XI XH)))))))))))))))))))))))))))))) :: ((Npos (XO (XI (XI
+    (XI (XO (XO (XI (XI (XI (XI (XI (XO (XI (XO (XI (XI (XO (XI (XI (XI (XO
+    (XI (XO (XI (XI (XO (XO (XO (XO (XO (XI
+    XH)))))))))))))))))))))))))))))))) :: ((Npos (XO (XI (XI (XI (XO (XI (XO
+    (XI (XO (XO (XO (XO (XI (XI (XO (XI (XO (XO (XO (XO (XO (XO (XO (XO (XI
+    (XO (XI (XO (XO (XO (XO XH)))))))))))))))))))))))))))))))) :: ((Npos (XI
+    (XI (XI (XI (XI (XO (XI (XO (XO (XO (XI (XO (XI (XO (XI (XO (XI (XO (XO
+    (XO (XI (XI (XO (XI (XO (XI (XO (XO (XO (XI (XI
+    XH)))))))))))))))))))))))))))))))) :: ((Npos (XO (XI (XO (XI (XI (XI (XI
+    (XI (XI (XI (XO (XO (XO (XO (XO (XI (XO (XI (XO (XO (XO (XO (XO (XO (XO
+    (XI (XO (XI (XI (XO (XI XH)))))))))))))))))))))))))))))))) :: ((Npos (XI
+    (XO (XI (XI (XI (XO (XO (XO (XI (XI (XI (XO (XO (XI (XO (XI (XI (XI (XI
+    (XI (XO (XO (XI (XO (XO (XI (XO (XI (XI (XO (XO
+    XH)))))))))))))))))))))))))))))))) :: ((Npos (XO (XI (XO (XO (XO (XO (XO
+    (XO (XI (XO (XO (XO (XO (XI (XO (XI (XO (XO (XO (XO (XI (XI (XI (XO (XO
+    (XI (XI XH)))))))))))))))))))))))))))) :: ((Npos (XI (XI (XO (XO (XI (XI
+    (XI (XO (XO (XI (XI (XO (XO (XO (XO (XI (XI (XO (XO (XO (XI (XO (XI (XI
+    (XO (XI (XI (XO (XO (XI XH))))))))))))))))))))))))))))))) :: ((Npos (XO
+    (XI (XI (XO (XO (XO (XI (XO (XI (XO (XI (XO (XI (XO (XI (XI (XO (XO (XO
+    (XI (XO (XO (XI (XI (XO (XO (XO (XI (XI (XI
+    XH))))))))))))))))))))))))))))))) :: ((Npos (XO (XO (XI (XO (XO (XI (XO
+    (XI (XO (XO (XO (XO (XO (XO (XI (XI (XI (XO (XO (XI (XO (XO (XI (XI (XO
+    XH)))))))))))))))))))))))))) :: ((Npos (XI (XI (XO (XI (XI (XI (XI (XO
+    (XI (XI (XO (XI (XO (XO (XI (XI (XO (XI (XO (XO (XO (XO (XI (XO (XI (XI
+    (XO (XI (XO (XI (XO XH)))))))))))))))))))))))))))))))) :: ((Npos (XO (XI
+    (XI (XO (XO (XO (XI (XO (XI (XO (XI (XI (XI (XO (XO (XI (XO (XO (XO (XO
+    (XO (XO (XO (XO (XO (XI (XI (XI (XO (XI (XO
+    XH)))))))))))))))))))))))))))))))) :: ((Npos (XI (XI (XO (XI (XI (XI (XI
+    (XI (XO (XO (XO (XI (XO (XI (XI (XO (XI (XI (XO (XI (XO (XI (XI (XO (XI
+    (XO (XI (XI (XI (XI (XO XH)))))))))))))))))))))))))))))))) :: ((Npos (XO
+    (XO (XO (XI (XI (XO (XO (XI (XI (XI (XI (XO (XI (XI (XI (XO (XI (XI (XI
+    (XI (XI (XO (XI (XO (XO (XI (XO (XO (XI (XI
+    XH))))))))))))))))))))))))))))))) :: ((Npos (XI (XO (XO (XI (XO (XO (XI
+    (XO (XI (XO (XO (XI (XO (XI (XI (XO (XI (XI (XO (XO (XI (XO (XO (XO (XO
+    (XI (XI (XO (XI (XO (XO XH)))))))))))))))))))))))))))))))) :: ((Npos (XI
+    (XI (XI (XI (XO (XO (XO (XI (XI (XI (XI (XI (XO (XO (XO (XO (XO (XO (XI
+    (XI (XI (XI (XO (XI (XO (XI (XI (XI (XO (XI
+    XH))))))))))))))))))))))))))))))) :: ((Npos (XO (XI (XO (XO (XO (XI (XO
+    (XO (XO (XO (XI (XI (XO (XI (XI (XI (XO (XI (XI (XO (XO (XO (XI (XI (XO
+    (XO (XO (XO (XO (XO (XI XH)))))))))))))))))))))))))))))))) :: ((Npos (XI
+    (XI (XI (XO (XI (XO (XI (XO (XI (XI (XO (XI (XI (XO (XI (XO (XO (XI (XO
+    (XO (XI (XO (XO (XI (XO (XO (XI (XI
+    XH))))))))))))))))))))))))))))) :: ((Npos (XO (XO (XI (XI (XI (XO (XI (XO
+    (XO (XO (XI (XO (XI (XO (XI (XI (XO (XI (XI (XI (XO (XI (XI (XI (XI (XI
+    (XO XH)))))))))))))))))))))))))))) :: ((Npos (XI (XO (XO (XO (XI (XI (XI
+    (XI (XO (XO (XI (XI (XO (XO (XI (XO (XO (XI (XO (XO (XO (XO (XO (XO (XI
+    (XI (XI (XO (XO (XI (XO XH)))))))))))))))))))))))))))))))) :: ((Npos (XI
+    (XO (XO (XI (XI (XI (XO (XO (XI (XI (XO (XI (XO (XI (XI (XO (XI (XO (XO
+    (XI (XO (XI (XO (XI (XO (XO (XO (XO (XO (XI
+    XH))))))))))))))))))))))))))))))) :: ((Npos (XI (XI (XI (XO (XO (XO (XI
+    (XI (XI (XI (XI (XO (XO (XI (XI (XI (XO (XO (XO (XI (XI (XO (XI (XI (XO
+    (XO (XI (XI XH))))))))))))))))))))))))))))) :: ((Npos (XI (XO (XI (XO (XI
+    (XI (XI (XI (XI (XO (XO (XO (XO (XI (XO (XO (XO (XI (XI (XI (XI (XI (XO
+    (XO (XI (XO (XO (XI XH))))))))))))))))))))))))))))) :: ((Npos (XO (XO (XO
+    (XO (XO (XI (XI (XO (XI (XI (XI (XO (XI (XI (XO (XI (XI (XI (XI (XO (XO
+    (XI (XI (XI (XI (XI (XO (XI (XI (XO (XI
+    XH)))))))))))))))))))))))))))))))) :: ((Npos (XI (XO (XI (XI (XO (XO (XI
+    (XO (XO (XO (XI (XO (XI (XO (XI (XO (XI (XI (XI (XO (XO (XO (XI (XO (XO
+    (XI (XI (XI (XO (XI XH))))))))))))))))))))))))))))))) :: ((Npos (XO (XO
+    (XO (XI (XI (XI (XI (XO (XI (XO (XO (XI (XO (XI (XI (XI (XO (XO (XI (XO
+    (XO (XO (XI (XO (XO (XO (XO (XI (XO (XO (XI
+    XH)))))))))))))))))))))))))))))))) :: ((Npos (XO (XI (XO (XI (XI (XI (XI
+    (XO (XO (XO (XO (XI (XI (XO (XI (XI (XO (XO (XO (XI (XI (XI (XO (XO (XO
+    (XI (XI (XI (XO (XO (XI XH)))))))))))))))))))))))))))))))) :: ((Npos (XI
+    (XI (XO (XI (XI (XI (XO (XO (XI (XO (XO (XI (XI (XO (XO (XO (XO (XO (XO
+    (XI (XO (XI (XO (XO (XO (XI (XO (XO (XI
+    XH)))))))))))))))))))))))))))))) :: ((Npos (XI (XI (XI (XI (XO (XI (XI
+    (XO (XI (XO (XO (XI (XI (XO (XO (XI (XI (XO (XO (XO (XI (XO (XI (XI (XO
+    (XO (XI (XO (XI (XO (XI XH)))))))))))))))))))))))))))))))) :: ((Npos (XO
+    (XO (XI (XI (XI (XO (XO (XO (XI (XO (XO (XO (XO (XO (XI (XI (XO (XI (XO
+    (XO (XI (XI (XI (XO (XI (XI (XI (XO (XI
+    XH)))))))))))))))))))))))))))))) :: ((Npos (XI (XO (XO (XI (XO (XO (XO
+    (XI (XI (XO (XO (XO (XI (XI (XO (XI (XO (XO (XO (XO (XO (XO (XI (XO (XI
+    (XO (XI (XI (XI (XO XH))))))))))))))))))))))))))))))) :: ((Npos (XI (XO
+    (XI (XI (XO (XI (XI (XI (XI (XI (XO (XO (XO (XI (XO (XO (XI (XO (XO (XO
+    (XI (XO (XI (XO (XI (XO (XI (XO (XI (XO (XO
+    XH)))))))))))))))))))))))))))))))) :: ((Npos (XI (XI (XO (XI (XO (XI (XI
+    (XO (XI (XO (XO (XI (XO (XO (XO (XO (XI (XO (XI (XO (XO (XI (XI (XO (XI
+    (XI (XO (XO (XO XH)))))))))))))))))))))))))))))) :: ((Npos (XO (XO (XO
+    (XO (XI (XI (XO (XI (XI (XO (XO (XI (XO (XO (XO (XI (XI (XO (XI (XI (XO
+    (XO (XO (XI (XO (XI (XO (XO (XO (XO
+    XH))))))))))))))))))))))))))))))) :: ((Npos (XO (XO (XO (XO (XI (XI (XO
+    (XI (XO (XI (XI (XI (XO (XI (XO (XI (XI (XI (XO (XO (XI (XO (XI (XI (XO
+    (XO (XO (XO (XI XH)))))))))))))))))))))))))))))) :: ((Npos (XI (XO (XI
+    (XI (XO (XI (XO (XI (XI (XO (XO (XI (XI (XI (XO (XO (XI (XI (XO (XI (XI
+    (XO (XO (XO (XI (XI (XO (XI (XI (XI (XO
+    XH)))))))))))))))))))))))))))))))) :: ((Npos (XO (XO (XO (XI (XO (XO (XO
+    (XO (XI (XI (XO (XI (XI (XO (XO (XO (XI (XO (XI (XI (XO (XO (XI (XO (XO
+    (XO (XI (XO (XI (XO XH))))))))))))))))))))))))))))))) :: ((Npos (XI (XI
+    (XO (XI (XI (XO (XI (XO (XO (XI (XI (XO (XI (XI (XI (XI (XI (XI (XI (XO
+    (XO (XI (XO (XO (XO (XO (XO (XO (XO (XO
+    XH))))))))))))))))))))))))))))))) :: ((Npos (XI (XO (XI (XO (XO (XO (XO
+    (XI (XI (XO (XO (XI (XO (XI (XO (XI (XO (XI (XO (XI (XO (XO (XO (XI (XO
+    (XI (XI (XI XH))))))))))))))))))))))))))))) :: ((Npos (XO (XO (XO (XI (XI
+    (XO (XO (XO (XO (XO (XI (XO (XO (XI (XI (XO (XO (XO (XO (XI (XI (XO (XO
+    (XI (XO (XI (XO XH)))))))))))))))))))))))))))) :: ((Npos (XO (XI (XO (XI
+    (XI (XI (XO (XO (XO (XO (XO (XO (XO (XI (XO (XO (XO (XO (XI (XO (XO (XI
+    (XI (XO (XI (XO (XI (XO (XO (XI
+    XH))))))))))))))))))))))))))))))) :: ((Npos (XI (XI (XO (XO (XO (XI (XI
+    (XO (XO (XI (XO (XI (XO (XI (XO (XI (XI (XI (XI (XI (XI (XI (XI (XO (XI
+    (XO (XI (XO (XO (XO (XO XH)))))))))))))))))))))))))))))))) :: ((Npos (XO
+    (XI (XI (XO (XO (XI (XO (XO (XI (XI (XO (XO (XO (XO (XO (XO (XI (XO (XI
+    (XO (XI (XI (XO (XI (XO (XI (XI (XI
+    XH))))))))))))))))))))))))))))) :: ((Npos (XI (XI (XI (XO (XI (XI (XI (XO
+    (XI (XO (XI (XI (XI (XI (XO (XI (XO (XO (XO (XO (XI (XI (XI (XI (XO (XI
+    (XI (XI (XO (XI (XO XH)))))))))))))))))))))))))))))))) :: ((Npos (XO (XO
+    (XI (XI (XO (XI (XO (XO (XO (XI (XO (XI (XO (XO (XI (XO (XI (XO (XI (XO
+    (XO (XO (XI (XI (XI (XI (XO (XO (XO (XI (XI
+    XH)))))))))))))))))))))))))))))))) :: ((Npos (XI (XI (XO (XO (XI (XO (XO
+    (XI (XO (XI (XO (XI (XO (XO (XO (XO (XO (XO (XI (XI (XO (XO (XO (XO (XO
+    (XI (XO (XO (XI (XO XH))))))))))))))))))))))))))))))) :: ((Npos (XI (XI
+    (XI (XO (XI (XI (XO (XO (XO (XI (XO (XI (XI (XO (XO (XO (XO (XI (XO (XI
+    (XI (XI (XI (XI (XO (XO (XO (XO (XO (XI (XO
+    XH)))))))))))))))))))))))))))))))) :: ((Npos (XI (XI (XI (XI (XO (XO (XO
+    (XO (XO (XO (XI (XO (XO (XO (XO (XO (XI (XO (XO (XO (XO (XI (XO (XI (XI
+    (XO (XO (XI (XI XH)))))))))))))))))))))))))))))) :: ((Npos (XI (XI (XI
+    (XI (XO (XO (XI (XO (XO (XI (XI (XI (XO (XO (XO (XI (XI (XO (XO (XI (XI
+    (XO (XO (XO (XO (XI (XI (XI (XI
+    XH)))))))))))))))))))))))))))))) :: ((Npos (XI (XO (XO (XI (XO (XO (XI
+    (XO (XO (XI (XO (XI (XO (XI (XO (XO (XI (XI (XO (XI (XO (XI (XO (XI (XO
+    (XI (XO (XI (XO XH)))))))))))))))))))))))))))))) :: ((Npos (XI (XO (XO
+    (XO (XO (XO (XO (XO (XI (XO (XI (XI (XO (XO (XI (XO (XO (XI (XO (XI (XI
+    (XI (XO (XO (XO (XI (XO XH)))))))))))))))))))))))))))) :: ((Npos (XI (XO
+    (XO (XO (XO (XI (XO (XI (XO (XO (XI (XI (XO (XO (XO (XI (XI (XO (XO (XI
+    (XO (XO (XI (XI (XI (XI (XI (XI (XI (XO
+    XH))))))))))))))))))))))))))))))) :: ((Npos (XO (XO (XO (XO (XI (XO (XI
+    (XO (XI (XO (XI (XO (XO (XI (XO (XO (XO (XI (XI (XO (XO (XI (XO (XO (XI
+    (XO (XO (XI (XO (XO XH))))))))))))))))))))))))))))))) :: ((Npos (XO (XI
+    (XI (XO (XO (XI (XI (XO (XO (XI (XO (XO (XO (XI (XI (XI (XO (XI (XO (XO
+    (XO (XI (XI (XO (XI (XO (XO (XI (XI (XO (XI
+    XH)))))))))))))))))))))))))))))))) :: ((Npos (XI (XO (XI (XO (XO (XI (XI
+    (XO (XO (XO (XI (XI (XI (XI (XO (XO (XO (XI (XI (XI (XI (XI (XI (XO (XO
+    (XO (XI (XO (XI (XO XH))))))))))))))))))))))))))))))) :: ((Npos (XI (XI
+    (XI (XI (XI (XO (XO (XI (XI (XI (XO (XO (XI (XI (XO (XI (XI (XI (XO (XI
+    (XI (XO (XO (XI (XI (XI (XO (XO (XI (XI (XI
+    XH)))))))))))))))))))))))))))))))) :: ((Npos (XO (XO (XO (XI (XI (XO (XO
+    (XI (XI (XI (XI (XO (XI (XI (XO (XI (XI (XO (XI (XI (XI (XO (XO (XI (XI
+    (XO (XI (XO (XO (XO (XO XH)))))))))))))))))))))))))))))))) :: ((Npos (XO
+    (XO (XO (XO (XO (XI (XI (XI (XO (XO (XO (XO (XI (XI (XI (XO (XI (XO (XI
+    (XI (XI (XI (XI (XI (XI (XO (XO (XI (XI (XI (XI
+    XH)))))))))))))))))))))))))))))))) :: ((Npos (XO (XI (XI (XI (XO (XO (XO
+    (XI (XI (XO (XO (XI (XO (XO (XO (XO (XO (XI (XI (XO (XO (XO (XI (XI (XI
+    (XO (XI (XO (XI (XO XH))))))))))))))))))))))))))))))) :: ((Npos (XO (XI
+    (XI (XI (XO (XI (XO (XO (XI (XI (XO (XO (XO (XO (XI (XO (XO (XO (XO (XI
+    (XI (XI (XO (XO XH))))))))))))))))))))))))) :: ((Npos (XI (XI (XI (XO (XI
+    (XI (XO (XI (XI (XO (XI (XI (XI (XI (XI (XI (XI (XO (XO (XO (XO (XI (XO
+    (XO (XI (XI XH))))))))))))))))))))))))))) :: ((Npos (XO (XO (XO (XO (XI
+    (XO (XO (XO (XO (XO (XO (XO (XI (XI (XI (XI (XI (XO (XO (XI (XI (XI (XI
+    (XO (XO (XO (XO (XI (XI (XI XH))))))))))))))))))))))))))))))) :: ((Npos
+    (XO (XI (XI (XO (XO (XI (XI (XI (XI (XO (XI (XI (XO (XI (XO (XO (XI (XO
+    (XO (XO (XI (XO (XO (XO (XO (XO (XO (XI (XI (XO (XO
+    XH)))))))))))))))))))))))))))))))) :: ((Npos (XO (XI (XO (XO (XI (XI (XI
+    (XI (XO (XO (XI (XI (XI (XO (XO (XI (XO (XO (XO (XI (XI (XO (XI (XO (XO
+    (XI (XO (XO (XI (XO XH))))))))))))))))))))))))))))))) :: ((Npos (XI (XI
+    (XO (XI (XI (XI (XI (XI (XI (XO (XI (XI (XO (XI (XO (XO (XI (XI (XO (XI
+    (XI (XO (XI (XO (XI (XI (XO (XO (XI (XI (XI
+    XH)))))))))))))))))))))))))))))))) :: ((Npos (XI (XO (XI (XI (XI (XI (XI
+    (XI (XI (XI (XO (XI (XI (XO (XO (XI (XI (XO (XO (XO (XI (XI (XO (XI (XI
+    (XO (XI (XI XH))))))))))))))))))))))))))))) :: ((Npos (XI (XI (XO (XO (XI
+    (XO (XO (XO (XO (XI (XI (XI (XI (XI (XO (XO (XI (XO (XO (XO (XI (XO (XO
+    (XI (XO (XI (XO (XO XH))))))))))))))))))))))))))))) :: ((Npos (XI (XO (XI
+    (XI (XI (XO (XI (XO (XO (XO (XI (XO (XI (XO (XI (XO (XO (XO (XO (XO (XI
+    (XI (XI (XO (XI (XO (XI (XO (XI (XO (XI
+    XH)))))))))))))))))))))))))))))))) :: ((Npos (XI (XI (XI (XO (XO (XI (XI
+    (XI (XO (XO (XI (XI (XO (XI (XI (XI (XO (XO (XI (XO (XI (XI (XO (XO (XO
+    (XO (XI (XI (XO (XI (XO XH)))))))))))))))))))))))))))))))) :: ((Npos (XO
+    (XI (XI (XO (XO (XO (XI (XO (XI (XI (XO (XI (XI (XI (XO (XI (XI (XO (XO
+    (XO (XO (XO (XO (XI (XO (XO (XO XH)))))))))))))))))))))))))))) :: ((Npos
+    (XO (XI (XO (XO (XI (XI (XO (XI (XI (XO (XI (XO (XO (XI (XO (XI (XI (XO
+    (XO (XO (XI (XI (XI (XO (XI (XO (XO (XI (XO (XO
+    XH))))))))))))))))))))))))))))))) :: ((Npos (XO (XI (XI (XO (XI (XI (XO
+    (XO (XI (XI (XO (XI (XI (XO (XO (XI (XO (XI (XO (XO (XI (XO (XO (XO (XO
+    (XO (XO (XI (XO (XO (XI XH)))))))))))))))))))))))))))))))) :: ((Npos (XI
+    (XI (XI (XO (XO (XO (XO (XO (XI (XI (XI (XO (XI (XI (XO (XO (XO (XO (XO
+    (XO (XO (XO (XI (XO (XI (XO (XO (XO (XI (XI (XO
+    XH)))))))))))))))))))))))))))))))) :: ((Npos (XO (XO (XI (XI (XI (XI (XI
+    (XO (XI (XO (XO (XI (XI (XO (XI (XI (XO (XO (XI (XI (XI (XO (XO (XI (XI
+    (XI (XI (XO (XI (XO XH))))))))))))))))))))))))))))))) :: ((Npos (XO (XO
+    (XO (XI (XI (XI (XI (XI (XI (XO (XO (XO (XI (XO (XI (XO (XO (XI (XO (XO
+    (XO (XO (XO (XO (XI (XI (XI (XO (XO (XI
+    XH))))))))))))))))))))))))))))))) :: ((Npos (XI (XO (XI (XI (XO (XO (XI
+    (XI (XI (XI (XO (XI (XO (XO (XI (XO (XI (XI (XO (XO (XO (XI (XI (XO (XO
+    (XO (XI (XO (XI (XO XH))))))))))))))))))))))))))))))) :: ((Npos (XI (XI
+    (XO (XI (XI (XO (XO (XO (XO (XI (XO (XO (XO (XI (XO (XI (XO (XO (XI (XI
+    (XI (XI (XI (XI (XO XH)))))))))))))))))))))))))) :: ((Npos (XI (XI (XI
+    (XI (XO (XI (XI (XI (XI (XI (XI (XO (XI (XO (XO (XO (XO (XO (XI (XO (XO
+    (XO (XI (XI (XO (XI (XO (XI (XI (XI (XO
+    XH)))))))))))))))))))))))))))))))) :: ((Npos (XI (XI (XO (XI (XO (XO (XI
+    (XI (XO (XO (XO (XO (XI (XO (XO (XO (XO (XI (XI (XO (XI (XO (XI (XI (XO
+    (XI (XO (XO (XI (XI (XI XH)))))))))))))))))))))))))))))))) :: ((Npos (XI
+    (XI (XO (XO (XO (XO (XI (XO (XI (XO (XO (XO (XI (XO (XO (XI (XI (XI (XI
+    (XI (XO (XO (XO (XI (XI (XO (XO (XO (XO (XI (XO
+    XH)))))))))))))))))))))))))))))))) :: ((Npos (XO (XI (XI (XI (XI (XI (XI
+    (XO (XI (XI (XI (XI (XI (XI (XI (XI (XI (XI (XI (XI (XO (XI (XI (XI (XO
+    (XO (XO (XO (XO (XI (XO XH)))))))))))))))))))))))))))))))) :: ((Npos (XI
+    (XI (XI (XI (XI (XO (XI (XI (XI (XI (XI (XO (XO (XI (XI (XO (XO (XI (XI
+    (XI (XI (XI (XI (XO (XO (XI (XO (XO (XI (XO (XO
+    XH)))))))))))))))))))))))))))))))) :: ((Npos (XO (XI (XO (XO (XI (XO (XO
+    (XO (XI (XI (XO (XI (XI (XO (XI (XI (XO (XO (XI (XI (XI (XI (XO (XI (XI
+    (XI (XO (XI (XI (XO (XO XH)))))))))))))))))))))))))))))))) :: ((Npos (XI
+    (XI (XO (XI (XO (XO (XI (XO (XO (XO (XI (XO (XI (XO (XI (XO (XO (XO (XO
+    (XO (XI (XO (XO (XO (XI (XO (XO (XO (XO (XI (XI
+    XH)))))))))))))))))))))))))))))))) :: ((Npos (XO (XO (XI (XI (XO (XO (XI
+    (XO (XI (XI (XO (XI (XO (XI (XO (XI (XO (XI (XI (XI (XO (XI (XO (XO (XI
+    (XI (XO (XO (XI (XO (XO XH)))))))))))))))))))))))))))))))) :: ((Npos (XI
+    (XO (XO (XO (XO (XI (XO (XI (XI (XO (XI (XI (XO (XI (XO (XI (XO (XO (XO
+    (XI (XI (XO (XO (XI (XO (XO (XO (XI (XI (XO (XO
+    XH)))))))))))))))))))))))))))))))) :: ((Npos (XI (XO (XO (XO (XI (XO (XO
+    (XO (XI (XI (XI (XI (XI (XI (XO (XI (XO (XO (XO (XO (XI (XO (XO (XO (XO
+    (XO (XI (XO (XI (XI (XO XH)))))))))))))))))))))))))))))))) :: ((Npos (XI
+    (XI (XI (XI (XI (XI (XI (XI (XO (XO (XI (XI (XO (XO (XI (XI (XO (XO (XI
+    (XO (XI (XO (XI (XI (XO (XO (XI (XO (XO (XI
+    XH))))))))))))))))))))))))))))))) :: ((Npos (XO (XO (XO (XI (XI (XO (XI
+    (XO (XI (XI (XI (XO (XO (XO (XO (XO (XO (XI (XO (XO (XO (XO (XO (XI (XI
+    (XI (XO (XI (XI (XI (XI XH)))))))))))))))))))))))))))))))) :: ((Npos (XO
+    (XO (XO (XI (XO (XI (XI (XO (XI (XO (XI (XO (XI (XO (XI (XI (XI (XI (XI
+    (XO (XI (XO (XO (XI (XO (XO (XI (XO (XO (XI
+    XH))))))))))))))))))))))))))))))) :: ((Npos (XO (XI (XI (XO (XI (XO (XI
+    (XO (XO (XO (XO (XO (XO (XO (XI (XO (XO (XO (XI (XI (XO (XI (XO (XI (XO
+    (XO (XI (XI (XI XH)))))))))))))))))))))))))))))) :: ((Npos (XI (XO (XO
+    (XO (XI (XO (XI (XI (XI (XI (XO (XO (XI (XO (XI (XI (XI (XI (XO (XI (XO
+    (XO (XO (XI (XI (XO (XO (XI (XO (XO (XO
+    XH)))))))))))))))))))))))))))))))) :: ((Npos (XO (XO (XI (XO (XO (XI (XO
+    (XO (XI (XI (XI (XO (XI (XO (XO (XO (XO (XI (XO (XI (XI (XI (XI (XI (XI
+    (XO (XI (XO XH))))))))))))))))))))))))))))) :: ((Npos (XO (XO (XI (XO (XO
+    (XI (XO (XI (XI (XO (XO (XI (XI (XI (XI (XO (XI (XO (XI (XI (XO (XI (XO
+    (XI (XI (XI (XO (XO (XO (XO (XI
+    XH)))))))))))))))))))))))))))))))) :: ((Npos (XI (XO (XI (XI (XI (XO (XI
+    (XI (XI (XI (XO (XI (XO (XO (XI (XO (XI (XO (XI (XO (XI (XI (XO (XI (XO
+    (XO (XI XH)))))))))))))))))))))))))))) :: ((Npos (XI (XO (XO (XO (XI (XI
+    (XI (XO (XO (XO (XO (XI (XO (XO (XO (XI (XI (XI (XI (XO (XO (XI (XI (XO
+    (XI (XI (XI (XO (XI (XI (XI XH)))))))))))))))))))))))))))))))) :: ((Npos
+    (XO (XO (XO (XI (XO (XI (XO (XI (XO (XI (XI (XI (XI (XI (XO (XO (XI (XI
+    (XO (XI (XI (XI (XO (XO (XI (XO (XI (XI (XO (XO (XI
+    XH)))))))))))))))))))))))))))))))) :: ((Npos (XO (XO (XI (XO (XI (XO (XI
+    (XI (XI (XO (XO (XO (XI (XO (XO (XO (XO (XO (XI (XO (XO (XI (XO (XI (XI
+    (XO (XO (XI (XO (XI (XO XH)))))))))))))))))))))))))))))))) :: ((Npos (XO
+    (XO (XI (XI (XI (XI (XO (XI (XI (XI (XO (XO (XI (XI (XO (XO (XI (XO (XO
+    (XI (XO (XO (XI (XI (XO (XO (XI (XO (XI (XI (XI
+    XH)))))))))))))))))))))))))))))))) :: ((Npos (XI (XI (XO (XO (XI (XO (XO
+    (XI (XI (XO (XI (XI (XI (XI (XO (XO (XO (XO (XO (XI (XO (XI (XO (XI (XO
+    (XI (XI (XI (XI (XI (XI XH)))))))))))))))))))))))))))))))) :: ((Npos (XO
+    (XO (XI (XO (XI (XO (XO (XI (XO (XI (XI (XI (XO (XI (XI (XO (XO (XO (XO
+    (XI (XI (XO (XO (XO (XI (XI (XO (XO (XO (XO (XO
+    XH)))))))))))))))))))))))))))))))) :: ((Npos (XI (XO (XO (XO (XO (XI (XI
+    (XO (XO (XI (XI (XO (XI (XO (XO (XI (XI (XI (XO (XI (XO (XI (XO (XO (XI
+    (XO (XI (XI (XI (XO (XI XH)))))))))))))))))))))))))))))))) :: ((Npos (XI
+    (XI (XO (XI (XO (XI (XO (XO (XI (XO (XI (XI (XI (XI (XO (XO (XO (XO (XO
+    (XI (XO (XI (XO (XI (XI (XO (XI (XI
+    XH))))))))))))))))))))))))))))) :: ((Npos (XO (XO (XI (XO (XO (XI (XI (XO
+    (XI (XO (XI (XI (XI (XO (XI (XI (XO (XI (XI (XI (XI (XI (XI (XI (XO (XO
+    (XO (XO XH))))))))))))))))))))))))))))) :: ((Npos (XI (XO (XO (XI (XO (XO
+    (XO (XI (XO (XI (XI (XI (XI (XO (XO (XI (XI (XO (XO (XI (XI (XO (XO (XI
+    (XI (XO (XI (XI (XO XH)))))))))))))))))))))))))))))) :: ((Npos (XI (XO
+    (XI (XI (XO (XO (XI (XI (XI (XI (XO (XI (XO (XI (XI (XO (XO (XO (XI (XI
+    (XI (XO (XO (XI (XO (XI (XI (XO (XI
+    XH)))))))))))))))))))))))))))))) :: ((Npos (XI (XI (XI (XO (XI (XI (XI
+    (XO (XO (XI (XO (XI (XO (XI (XI (XI (XI (XI (XI (XI (XO (XO (XI (XI (XO
+    (XI (XO (XI (XO (XO (XI XH)))))))))))))))))))))))))))))))) :: ((Npos (XI
+    (XO (XI (XI (XO (XI (XI (XI (XO (XO (XI (XI (XO (XO (XI (XO (XO (XO (XO
+    (XI (XO (XO (XO (XO (XI (XO (XI (XO (XO (XI (XO
+    XH)))))))))))))))))))))))))))))))) :: ((Npos (XI (XO (XO (XI (XO (XO (XI
+    (XO (XI (XI (XI (XO (XI (XO (XO (XI (XO (XO (XO (XO (XI (XI (XO (XI (XO
+    (XI (XI (XO (XO (XI XH))))))))))))))))))))))))))))))) :: ((Npos (XO (XI
+    (XO (XO (XO (XO (XO (XO (XI (XI (XO (XO (XI (XO (XI (XO (XO (XO (XO (XI
+    (XI (XO (XI (XI (XI (XO (XO (XI (XO (XO (XI
+    XH)))))))))))))))))))))))))))))))) :: ((Npos (XI (XO (XI (XI (XI (XI (XO
+    (XI (XI (XO (XO (XO (XI (XO (XO (XO (XI (XO (XI (XO (XI (XO (XO (XO (XI
+    (XO (XI (XI XH))))))))))))))))))))))))))))) :: ((Npos (XI (XI (XI (XI (XI
+    (XI (XO (XI (XI (XI (XI (XO (XO (XO (XO (XO (XI (XI (XO (XI (XI (XI (XO
+    (XI (XO (XO (XI (XO (XI (XO (XI
+    XH)))))))))))))))))))))))))))))))) :: ((Npos (XO (XO (XI (XO (XO (XO (XI
+    (XI (XI (XO (XI (XO (XO (XI (XI (XO (XO (XI (XI (XI (XI (XO (XO (XO (XO
+    (XO (XI (XI (XO (XO (XI XH)))))))))))))))))))))))))))))))) :: ((Npos (XI
+    (XO (XI (XO (XI (XO (XI (XI (XO (XI (XI (XO (XI (XO (XO (XO (XI (XI (XO
+    (XI (XI (XI (XI (XI (XO (XO (XI XH)))))))))))))))))))))))))))) :: ((Npos
+    (XI (XI (XI (XO (XI (XO (XO (XO (XI (XI (XI (XO (XO (XO (XO (XO (XO (XO
+    (XI (XI (XI (XI (XI (XO (XO (XO (XI (XI (XO (XO (XO
+    XH)))))))))))))))))))))))))))))))) :: ((Npos (XO (XI (XI (XO (XO (XI (XI
+    (XO (XO (XI (XO (XO (XO (XI (XO (XO (XO (XO (XI (XI (XI (XO (XI (XI (XI
+    (XO (XO (XO (XO (XO (XI XH)))))))))))))))))))))))))))))))) :: ((Npos (XO
+    (XI (XI (XO (XI (XI (XI (XI (XO (XI (XO (XO (XI (XI (XO (XO (XO (XI (XI
+    (XO (XO (XI (XO (XI (XO (XO (XO XH)))))))))))))))))))))))))))) :: ((Npos
+    (XO (XI (XO (XI (XO (XO (XI (XO (XO (XI (XO (XO (XO (XI (XO (XI (XI (XO
+    (XI (XI (XI (XI (XI (XO (XO (XO (XO (XO (XO (XI (XO
+    XH)))))))))))))))))))))))))))))))) :: ((Npos (XI (XI (XI (XI (XI (XI (XI
+    (XI (XI (XI (XI (XO (XI (XI (XI (XO (XO (XO (XO (XO (XI (XO (XI (XO (XO
+    (XI (XO (XO (XI (XO (XO XH)))))))))))))))))))))))))))))))) :: ((Npos (XO
+    (XI (XO (XI (XO (XI (XI (XI (XI (XO (XO (XO (XI (XI (XO (XI (XO (XO (XI
+    (XO (XI (XI (XI (XO (XI (XO (XI (XI (XO (XO
+    XH))))))))))))))))))))))))))))))) :: ((Npos (XI (XI (XI (XI (XI (XO (XI
+    (XI (XO (XI (XI (XO (XO (XI (XI (XI (XI (XO (XI (XO (XI (XO (XO (XI (XI
+    (XO (XI (XO (XI (XI (XI XH)))))))))))))))))))))))))))))))) :: ((Npos (XO
+    (XI (XI (XO (XO (XI (XI (XO (XO (XO (XO (XI (XI (XO (XI (XO (XO (XI (XO
+    (XO (XO (XO (XO (XI (XO (XO (XI (XI (XI (XI
+    XH))))))))))))))))))))))))))))))) :: ((Npos (XI (XO (XO (XI (XO (XO (XI
+    (XI (XI (XO (XI (XO (XI (XO (XI (XI (XI (XO (XO (XO (XI (XO (XO (XI (XI
+    (XI (XI (XO (XI XH)))))))))))))))))))))))))))))) :: ((Npos (XI (XI (XO
+    (XO (XI (XI (XO (XO (XO (XO (XO (XI (XI (XI (XI (XO (XO (XO (XI (XI (XI
+    (XI (XI (XI (XI (XO (XI (XO (XI (XO
+    XH))))))))))))))))))))))))))))))) :: ((Npos (XO (XI (XI (XI (XI (XO (XI
+    (XI (XO (XI (XO (XO (XI (XO (XI (XO (XI (XI (XI (XO (XO (XO (XI (XI (XO
+    (XO (XO (XI (XI XH)))))))))))))))))))))))))))))) :: ((Npos (XO (XI (XI
+    (XI (XI (XI (XO (XI (XO (XO (XO (XO (XI (XI (XI (XI (XI (XO (XO (XI (XO
+    (XI (XO (XO (XI (XO (XO (XO (XI (XO (XI
+    XH)))))))))))))))))))))))))))))))) :: ((Npos (XO (XI (XI (XI (XI (XO (XI
+    (XI (XI (XI (XI (XI (XI (XI (XI (XO (XI (XI (XI (XO (XO (XI (XI (XI (XO
+    (XO (XI (XI (XO XH)))))))))))))))))))))))))))))) :: ((Npos (XO (XI (XI
+    (XI (XO (XO (XO (XO (XO (XI (XI (XI (XO (XI (XI (XO (XI (XO (XI (XI (XO
+    (XI (XI (XI (XO (XI (XO (XO (XI
+    XH)))))))))))))))))))))))))))))) :: ((Npos (XO (XO (XI (XO (XI (XI (XO
+    (XI (XI (XO (XO (XO (XO (XI (XI (XO (XO (XO (XO (XI (XI (XI (XI (XO (XO
+    (XO (XI (XO (XI (XI XH))))))))))))))))))))))))))))))) :: ((Npos (XO (XI
+    (XO (XI (XO (XO (XO (XI (XI (XO (XI (XO (XI (XI (XI (XI (XO (XI (XI (XO
+    (XI (XI (XI (XO (XI (XO (XO (XO (XO (XI (XO
+    XH)))))))))))))))))))))))))))))))) :: ((Npos (XO (XI (XI (XI (XI (XO (XO
+    (XO (XO (XO (XI (XI (XO (XO (XO (XI (XO (XO (XO (XO (XO (XO (XI (XO (XI
+    (XO (XO (XO (XI (XI (XI XH)))))))))))))))))))))))))))))))) :: ((Npos (XO
+    (XO (XI (XI (XO (XI (XO (XO (XI (XI (XO (XI (XO (XI (XI (XI (XO (XI (XO
+    (XI (XI (XI (XO (XI (XI (XO (XI (XO (XI (XI (XO
+    XH)))))))))))))))))))))))))))))))) :: ((Npos (XI (XO (XO (XO (XI (XO (XO
+    (XI (XO (XI (XI (XI (XI (XO (XO (XO (XO (XO (XI (XO (XO (XI (XI (XO (XI
+    (XI (XO (XO (XO (XI XH))))))))))))))))))))))))))))))) :: ((Npos (XI (XO
+    (XO (XI (XO (XI (XI (XO (XI (XO (XI (XI (XI (XO (XI (XI (XI (XO (XI (XI
+    (XI (XI (XI (XI (XI (XI (XI (XI (XO
+    XH)))))))))))))))))))))))))))))) :: ((Npos (XO (XO (XO (XO (XO (XI (XI
+    (XO (XI (XO (XO (XO (XI (XI (XI (XI (XO (XO (XI (XO (XI (XI (XI (XO (XO
+    (XI (XI (XO (XO (XO XH))))))))))))))))))))))))))))))) :: ((Npos (XO (XO
+    (XI (XI (XI (XO (XO (XO (XO (XI (XO (XO (XI (XO (XO (XO (XI (XI (XI (XI
+    (XI (XI (XO (XO (XO (XI (XI (XI (XI (XI (XI
+    XH)))))))))))))))))))))))))))))))) :: ((Npos (XI (XI (XI (XO (XI (XO (XO
+    (XO (XI (XI (XI (XI (XI (XI (XO (XO (XO (XO (XI (XI (XI (XI (XO (XO (XI
+    (XI (XO (XI (XI (XI (XI XH)))))))))))))))))))))))))))))))) :: ((Npos (XI
+    (XI (XI (XI (XI (XO (XO (XO (XI (XO (XI (XO (XI (XO (XO (XI (XO (XI (XI
+    (XO (XO (XI (XO (XO (XI (XO (XO (XI (XO (XO (XI
+    XH)))))))))))))))))))))))))))))))) :: ((Npos (XO (XI (XO (XI (XI (XI (XI
+    (XI (XI (XI (XI (XO (XO (XI (XO (XI (XI (XI (XO (XO (XO (XO (XI (XO (XO
+    (XI (XI (XO XH))))))))))))))))))))))))))))) :: ((Npos (XO (XI (XO (XO (XI
+    (XO (XO (XO (XI (XI (XI (XO (XO (XO (XI (XI (XO (XO (XO (XI (XO (XO (XI
+    (XO (XO (XI (XO (XO (XI (XO (XO
+    XH)))))))))))))))))))))))))))))))) :: ((Npos (XI (XO (XI (XI (XI (XI (XI
+    (XI (XO (XI (XI (XI (XO (XI (XO (XI (XO (XI (XO (XI (XI (XO (XI (XO (XI
+    (XO (XI (XI (XO (XO (XO XH)))))))))))))))))))))))))))))))) :: ((Npos (XI
+    (XO (XO (XO (XO (XI (XO (XI (XO (XO (XI (XI (XO (XI (XO (XO (XI (XI (XI
+    (XI (XI (XO (XO (XI (XI (XO (XO (XI (XI (XO (XI
+    XH)))))))))))))))))))))))))))))))) :: ((Npos (XI (XO (XO (XI (XO (XO (XO
+    (XO (XI (XI (XO (XI (XO (XI (XO (XO (XO (XO (XO (XI (XO (XI (XO (XO (XO
+    (XO (XI (XI (XI (XO (XO XH)))))))))))))))))))))))))))))))) :: ((Npos (XO
+    (XI (XI (XI (XO (XI (XI (XI (XO (XO (XI (XI (XI (XO (XO (XI (XO (XO (XI
+    (XO (XI (XI (XI (XO (XO (XI (XO (XO (XO (XI
+    XH))))))))))))))))))))))))))))))) :: ((Npos (XI (XO (XI (XI (XO (XI (XO
+    (XO (XI (XO (XI (XO (XO (XO (XI (XI (XO (XI (XO (XI (XI (XO (XO (XI (XO
+    (XO (XI (XI (XI (XO XH))))))))))))))))))))))))))))))) :: ((Npos (XO (XI
+    (XO (XI (XO (XI (XO (XI (XI (XO (XO (XO (XI (XI (XI (XO (XI (XO (XO (XI
+    (XO (XI (XO (XO (XI (XO (XO (XI (XO (XO
+    XH))))))))))))))))))))))))))))))) :: ((Npos (XO (XO (XO (XI (XI (XO (XO
+    (XI (XO (XO (XO (XI (XI (XI (XI (XO (XO (XO (XI (XO (XI (XI (XI (XI (XI
+    (XO (XO (XI (XO XH)))))))))))))))))))))))))))))) :: ((Npos (XI (XI (XO
+    (XO (XI (XI (XI (XO (XI (XO (XI (XO (XO (XO (XI (XI (XO (XI (XI (XO (XI
+    (XO (XI (XO (XO (XO (XI (XI (XI (XO (XI
+    XH)))))))))))))))))))))))))))))))) :: ((Npos (XI (XI (XO (XO (XI (XO (XI
+    (XI (XO (XO (XI (XI (XO (XI (XO (XO (XO (XO (XI (XO (XO (XI (XO (XO (XO
+    (XO (XO (XI (XI (XO (XO XH)))))))))))))))))))))))))))))))) :: ((Npos (XI
+    (XO (XI (XO (XO (XO (XI (XI (XO (XI (XI (XO (XI (XO (XI (XI (XO (XO (XI
+    (XI (XI (XO (XO (XO (XI (XO (XI (XI (XI (XO (XO
+    XH)))))))))))))))))))))))))))))))) :: ((Npos (XO (XO (XI (XO (XI (XI (XI
+    (XO (XI (XI (XO (XI (XI (XO (XO (XI (XO (XI (XO (XI (XI (XO (XI (XO (XI
+    (XO (XI (XO (XI XH)))))))))))))))))))))))))))))) :: ((Npos (XO (XO (XI
+    (XO (XO (XI (XI (XO (XI (XI (XO (XO (XI (XO (XO (XI (XI (XI (XI (XO (XI
+    (XI (XI (XI (XI (XI (XO (XO (XO (XO (XI
+    XH)))))))))))))))))))))))))))))))) :: ((Npos (XO (XI (XI (XI (XI (XI (XO
+    (XO (XI (XO (XI (XO (XI (XO (XO (XI (XO (XI (XI (XO (XI (XI (XO (XI (XO
+    (XO (XO (XI (XI (XI (XO XH)))))))))))))))))))))))))))))))) :: ((Npos (XO
+    (XI (XI (XO (XI (XI (XO (XO (XI (XI (XI (XO (XO (XI (XI (XO (XI (XI (XO
+    (XO (XO (XO (XO (XO (XI (XI (XO (XI (XI
+    XH)))))))))))))))))))))))))))))) :: ((Npos (XO (XI (XO (XI (XO (XI (XI
+    (XO (XO (XO (XI (XO (XI (XI (XO (XO (XI (XI (XO (XO (XI (XO (XI (XO (XI
+    (XO (XO (XO (XO (XI (XI XH)))))))))))))))))))))))))))))))) :: ((Npos (XI
+    (XI (XO (XO (XI (XO (XO (XO (XO (XI (XI (XO (XO (XO (XO (XI (XI (XI (XO
+    (XI (XO (XO (XO (XI (XO (XO (XO (XI (XO (XO (XO
+    XH)))))))))))))))))))))))))))))))) :: ((Npos (XO (XO (XI (XO (XI (XO (XO
+    (XI (XI (XO (XI (XI (XI (XI (XO (XI (XO (XO (XI (XI (XI (XI (XI (XO (XO
+    XH)))))))))))))))))))))))))) :: ((Npos (XO (XO (XI (XI (XI (XI (XO (XO
+    (XO (XI (XI (XI (XI (XI (XO (XO (XO (XO (XI (XO (XI (XI (XO (XO (XO (XO
+    (XI (XO (XI (XI XH))))))))))))))))))))))))))))))) :: ((Npos (XI (XO (XI
+    (XI (XI (XI (XI (XI (XI (XO (XI (XO (XI (XI (XI (XO (XO (XI (XO (XO (XO
+    (XI (XO (XO (XO (XO (XO (XI (XO (XO (XO
+    XH)))))))))))))))))))))))))))))))) :: ((Npos (XO (XI (XO (XI (XI (XI (XI
+    (XI (XO (XI (XO (XI (XO (XO (XO (XI (XO (XI (XI (XI (XO (XO (XI (XI (XI
+    (XO (XI (XI (XI XH)))))))))))))))))))))))))))))) :: ((Npos (XI (XI (XO
+    (XO (XO (XI (XI (XO (XO (XI (XI (XI (XO (XI (XI (XI (XI (XO (XI (XO (XO
+    (XO (XO (XO (XI (XO (XI (XO (XO (XI
+    XH))))))))))))))))))))))))))))))) :: ((Npos (XO (XO (XO (XI (XI (XI (XO
+    (XO (XI (XO (XO (XI (XI (XI (XI (XO (XO (XI (XO (XI (XO (XO
+    XH))))))))))))))))))))))) :: ((Npos (XO (XI (XI (XO (XO (XO (XI (XO (XI
+    (XO (XO (XI (XI (XO (XO (XI (XO (XI (XI (XO (XO (XO (XI (XI (XI (XI (XO
+    (XI XH))))))))))))))))))))))))))))) :: ((Npos (XI (XI (XO (XO (XI (XO (XO
+    (XO (XI (XO (XO (XI (XI (XI (XI (XI (XI (XI (XO (XO (XI (XO (XI (XI (XO
+    (XO (XI (XO (XO (XI (XO XH)))))))))))))))))))))))))))))))) :: ((Npos (XO
+    (XI (XI (XO (XI (XO (XO (XO (XI (XO (XI (XO (XO (XI (XO (XO (XI (XI (XI
+    (XI (XO (XO (XI (XI (XI (XO (XI (XO (XO (XO (XI
+    XH)))))))))))))))))))))))))))))))) :: ((Npos (XI (XO (XO (XI (XO (XI (XO
+    (XI (XI (XO (XI (XI (XI (XO (XO (XI (XO (XO (XI (XI (XI (XI (XI (XO (XI
+    (XI (XO (XI (XO (XO XH))))))))))))))))))))))))))))))) :: ((Npos (XO (XI
+    (XO (XI (XO (XI (XO (XO (XO (XO (XI (XO (XO (XO (XO (XO (XO (XO (XO (XO
+    (XO (XI (XO (XI (XI (XO (XO (XI (XO (XI (XI
+    XH)))))))))))))))))))))))))))))))) :: ((Npos (XI (XI (XI (XO (XI (XO (XO
+    (XI (XI (XI (XI (XO (XI (XI (XO (XI (XO (XI (XO (XO (XI (XO (XI (XO (XI
+    (XI (XO (XO (XI (XO (XI XH)))))))))))))))))))))))))))))))) :: ((Npos (XO
+    (XO (XI (XO (XO (XO (XI (XI (XI (XO (XI (XI (XI (XI (XI (XI (XO (XO (XI
+    (XO (XI (XO (XO (XI (XO (XO (XI (XI (XI (XO (XO
+    XH)))))))))))))))))))))))))))))))) :: ((Npos (XO (XI (XO (XI (XO (XO (XI
+    (XI (XI (XO (XO (XI (XO (XO (XI (XO (XI (XI (XO (XO (XI (XI (XO (XO (XI
+    (XI (XI (XI (XI (XO (XI XH)))))))))))))))))))))))))))))))) :: ((Npos (XI
+    (XO (XI (XI (XI (XI (XO (XO (XI (XO (XI (XI (XI (XI (XI (XO (XO (XO (XI
+    (XO (XO (XI (XO (XO (XI (XO (XI (XO (XO (XI
+    XH))))))))))))))))))))))))))))))) :: ((Npos (XI (XO (XO (XO (XO (XI (XO
+    (XO (XI (XI (XO (XO (XO (XO (XO (XI (XI (XO (XO (XO (XO (XO (XI (XI (XI
+    (XO (XO (XO (XO (XO (XI XH)))))))))))))))))))))))))))))))) :: ((Npos (XO
+    (XO (XI (XI (XO (XI (XO (XO (XI (XI (XI (XO (XO (XO (XI (XO (XO (XO (XO
+    (XI (XO (XI (XI (XI (XO (XI (XI (XO (XI (XI (XI
+    XH)))))))))))))))))))))))))))))))) :: ((Npos (XI (XI (XO (XO (XI (XO (XO
+    (XO (XI (XI (XO (XO (XI (XO (XO (XO (XI (XO (XI (XO (XI (XO (XO (XI (XO
+    (XI (XI (XO (XI XH)))))))))))))))))))))))))))))) :: ((Npos (XI (XO (XI
+    (XI (XO (XI (XO (XI (XO (XO (XO (XI (XO (XO (XO (XI (XI (XI (XO (XO (XI
+    (XI (XO (XO (XI (XO (XI (XO (XO (XO (XI
+    XH)))))))))))))))))))))))))))))))) :: ((Npos (XO (XO (XI (XO (XI (XI (XO
+    (XO (XO (XO (XO (XI (XI (XO (XO (XO (XO (XI (XO (XI (XI (XO (XI (XI (XO
+    (XO (XI (XI (XO (XO XH))))))))))))))))))))))))))))))) :: ((Npos (XI (XI
+    (XO (XI (XO (XO (XO (XO (XI (XO (XO (XI (XO (XO (XI (XI (XI (XI (XO (XO
+    (XO (XI (XI (XO (XI (XI (XI (XI (XO (XI (XO
+    XH)))))))))))))))))))))))))))))))) :: ((Npos (XI (XI (XO (XI (XI (XI (XO
+    (XO (XO (XO (XI (XO (XO (XI (XO (XO (XI (XI (XI (XI (XO (XI (XO (XI (XI
+    (XO (XI (XO (XO (XO XH))))))))))))))))))))))))))))))) :: ((Npos (XO (XO
+    (XO (XI (XO (XI (XI (XI (XO (XO (XI (XI (XI (XO (XI (XO (XO (XI (XI (XO
+    (XI (XI (XO (XO (XI (XI (XI (XO (XO (XO (XI
+    XH)))))))))))))))))))))))))))))))) :: ((Npos (XO (XI (XI (XI (XI (XI (XO
+    (XI (XI (XO (XO (XO (XI (XI (XO (XO (XI (XI (XO (XO (XO (XI (XO (XI (XI
+    (XO (XO (XI (XO XH)))))))))))))))))))))))))))))) :: ((Npos (XO (XI (XI
+    (XI (XO (XO (XO (XO (XO (XO (XI (XI (XO (XO (XO (XI (XI (XI (XO (XO (XI
+    (XO (XI (XI (XO (XO (XO (XO (XI (XO
+    XH))))))))))))))))))))))))))))))) :: ((Npos (XI (XO (XI (XO (XO (XI (XI
+    (XI (XO (XI (XO (XO (XO (XO (XI (XI (XO (XI (XO (XI (XO (XI (XO (XO (XI
+    (XI (XI (XI (XO (XO (XO XH)))))))))))))))))))))))))))))))) :: ((Npos (XO
+    (XO (XO (XO (XI (XO (XO (XI (XI (XI (XO (XO (XI (XI (XI (XO (XI (XI (XO
+    (XI (XO (XI (XI (XO (XO (XI XH))))))))))))))))))))))))))) :: ((Npos (XI
+    (XI (XO (XO (XO (XO (XI (XI (XO (XO (XO (XO (XI (XI (XI (XO (XO (XI (XI
+    (XO (XO (XI (XO (XI (XO (XO (XI (XI (XI (XO (XI
+    XH)))))))))))))))))))))))))))))))) :: ((Npos (XI (XI (XO (XO (XI (XO (XO
+    (XI (XI (XI (XO (XI (XI (XO (XI (XI (XO (XO (XO (XO (XO (XI (XI (XI (XI
+    (XO (XI (XO (XI XH)))))))))))))))))))))))))))))) :: ((Npos (XI (XO (XO
+    (XI (XO (XO (XO (XI (XO (XI (XO (XI (XO (XI (XI (XO (XO (XI (XO (XI (XI
+    (XO (XI (XO (XI (XO (XO (XI (XI (XO (XI
+    XH)))))))))))))))))))))))))))))))) :: ((Npos (XO (XI (XO (XO (XO (XO (XO
+    (XI (XI (XO (XI (XI (XO (XI (XI (XI (XO (XO (XI (XI (XI (XO (XI (XO (XO
+    (XI (XO (XO (XI XH)))))))))))))))))))))))))))))) :: ((Npos (XI (XI (XI
+    (XO (XO (XI (XO (XI (XO (XO (XO (XO (XO (XO (XI (XI (XO (XO (XI (XO (XO
+    (XI (XI (XI (XI (XI (XO (XO (XI (XI
+    XH))))))))))))))))))))))))))))))) :: ((Npos (XO (XO (XI (XI (XI (XI (XO
+    (XO (XI (XI (XO (XI (XI (XO (XI (XO (XO (XI (XI (XI (XO (XO (XI (XO (XO
+    (XI (XI (XO (XO (XI (XI XH)))))))))))))))))))))))))))))))) :: ((Npos (XI
+    (XI (XI (XO (XO (XO (XI (XO (XI (XO (XO (XO (XI (XI (XO (XO (XO (XO (XI
+    (XO (XO (XI (XO (XI (XI (XI (XI (XI (XO (XI (XO
+    XH)))))))))))))))))))))))))))))))) :: ((Npos (XI (XO (XI (XI (XI (XI (XI
+    (XI (XO (XI (XO (XI (XO (XI (XI (XI (XO (XO (XO (XO (XI (XO (XO (XI (XI
+    (XO (XI (XO (XI (XI XH))))))))))))))))))))))))))))))) :: ((Npos (XI (XO
+    (XI (XO (XI (XI (XO (XI (XO (XI (XI (XO (XI (XO (XO (XI (XO (XI (XI (XI
+    (XI (XI (XO (XI (XI (XO (XI (XO (XO (XI
+    XH))))))))))))))))))))))))))))))) :: ((Npos (XI (XI (XO (XI (XI (XO (XO
+    (XO (XI (XO (XO (XO (XO (XO (XO (XI (XO (XO (XO (XI (XO (XO (XI (XI
+    XH))))))))))))))))))))))))) :: ((Npos (XO (XO (XO (XI (XO (XO (XO (XI (XI
+    (XO (XI (XO (XO (XI (XO (XO (XO (XI (XO (XI (XI (XI (XI (XO (XO (XO (XO
+    (XO (XI (XO (XI
+    XH)))))))))))))))))))))))))))))))) :: [])))))))))))))))))))))))))))))))))))))))))))))))))))))))))))))))))))))))))))))))))))))))))))))))))))))))))))))))))))))))))))))))))))))))))))))))))))))))))))))))))))))))))))))))))))))))))))))))))))))))))))))))))))))))))))))))))))))))))))))))))))))))))))))))
+
+(** val v3 : n list **)
+
+let v3 =
+  (Npos (XO (XO (XO (XI (XI (XO (XI (XO (XO (XO (XI (XI (XI (XO (XI (XI (XO
+    (XI (XO (XO (XO (XO (XO (XO (XI (XI (XI (XO (XO (XO
+    XH))))))))))))))))))))))))))))))) :: ((Npos (XI (XI (XO (XI (XI (XO (XO
+    (XI (XO (XO (XO (XO (XI (XO (XI (XO (XO (XI (XI (XO (XO (XI (XI (XO (XO
+    (XO (XI (XI (XO XH)))))))))))))))))))))))))))))) :: ((Npos (XI (XI (XO
+    (XI (XO (XO (XI (XO (XI (XO (XO (XI (XI (XO (XI (XI (XI (XO (XO (XO (XO
+    (XI (XI (XO (XI (XI (XI (XO (XI (XO (XO
+    XH)))))))))))))))))))))))))))))))) :: ((Npos (XI (XO (XI (XO (XO (XI (XI
+    (XO (XI (XI (XO (XI (XO (XI (XI (XO (XI (XO (XI (XO (XO (XO (XO (XI (XI
+    (XI (XI (XI (XI (XI (XO XH)))))))))))))))))))))))))))))))) :: ((Npos (XO
+    (XI (XO (XO (XI (XO (XI (XI (XO (XO (XO (XO (XI (XO (XI (XO (XI (XO (XI
+    (XI (XI (XO (XI (XI (XI (XI (XO (XO (XO (XO (XI
+    XH)))))))))))))))))))))))))))))))) :: ((Npos (XI (XO (XI (XI (XI (XO (XO
+    (XO (XI (XI (XO (XO (XO (XO (XI (XO (XI (XI (XI (XI (XO (XO (XO (XI (XI
+    (XI (XI (XO (XO (XO XH))))))))))))))))))))))))))))))) :: ((Npos (XO (XO
+    (XI (XI (XO (XI (XI (XO (XO (XO (XO (XO (XI (XI (XO (XI (XO (XI (XO (XO
+    (XI (XO (XI (XI (XO (XI (XO (XO (XI (XO (XO
+    XH)))))))))))))))))))))))))))))))) :: ((Npos (XO (XI (XI (XI (XI (XI (XO
+    (XI (XO (XO (XO (XO (XI (XI (XO (XI (XO (XI (XI (XI (XI (XI (XI (XI (XO
+    (XO (XI (XI (XO XH)))))))))))))))))))))))))))))) :: ((Npos (XO (XI (XI
+    (XO (XO (XO (XO (XI (XO (XI (XI (XO (XI (XI (XO (XI (XO (XO (XO (XI (XI
+    (XO (XO (XI (XO (XI (XO (XI (XO
+    XH)))))))))))))))))))))))))))))) :: ((Npos (XO (XO (XI (XI (XO (XI (XO
+    (XO (XI (XI (XO (XI (XO (XI (XO (XI (XO (XO (XO (XO (XI (XO (XI (XO (XI
+    (XO (XI (XO (XI (XI XH))))))))))))))))))))))))))))))) :: ((Npos (XI (XI
+    (XI (XI (XO (XI (XI (XO (XI (XI (XO (XI (XI (XI (XI (XO (XO (XI (XI (XO
+    (XO (XO (XI (XO (XO (XO (XO (XI (XI (XO (XI
+    XH)))))))))))))))))))))))))))))))) :: ((Npos (XO (XO (XO (XI (XI (XO (XI
+    (XO (XO (XO (XO (XI (XO (XO (XO (XO (XI (XI (XI (XO (XO (XI (XO (XO (XO
+    (XO (XI (XI (XO (XO XH))))))))))))))))))))))))))))))) :: ((Npos (XO (XI
+    (XI (XO (XI (XO (XO (XI (XI (XO (XI (XO (XI (XI (XI (XO (XI (XI (XO (XO
+    (XO (XO (XO (XO (XI (XO (XO (XI (XI (XO
+    XH))))))))))))))))))))))))))))))) :: ((Npos (XI (XO (XI (XI (XI (XO (XI
+    (XI (XO (XI (XI (XI (XI (XO (XO (XI (XO (XI (XI (XO (XI (XI (XO (XI (XI
+    (XO (XI (XO XH))))))))))))))))))))))))))))) :: ((Npos (XO (XO (XO (XI (XO
+    (XI (XI (XO (XO (XO (XO (XO (XO (XO (XI (XO (XO (XO (XI (XO (XO (XO (XO
+    (XI (XO (XI (XO (XI (XI (XI XH))))))))))))))))))))))))))))))) :: ((Npos
+    (XO (XO (XO (XI (XI (XI (XO (XI (XO (XO (XO (XI (XO (XO (XI (XI (XO (XI
+    (XO (XO (XO (XO (XI (XO (XI (XO (XO (XI (XO (XI (XI
+    XH)))))))))))))))))))))))))))))))) :: ((Npos (XI (XO (XO (XI (XO (XO (XO
+    (XO (XO (XI (XI (XO (XI (XI (XO (XO (XO (XO (XO (XI (XO (XI (XO (XI (XO
+    (XI (XI (XI (XO (XI (XO XH)))))))))))))))))))))))))))))))) :: ((Npos (XI
+    (XI (XI (XO (XI (XI (XI (XO (XO (XO (XO (XO (XO (XI (XO (XO (XI (XI (XO
+    (XI (XO (XO (XI (XI (XI (XO (XI (XO (XI
+    XH)))))))))))))))))))))))))))))) :: ((Npos (XI (XI (XO (XO (XI (XI (XI
+    (XO (XO (XI (XO (XO (XO (XI (XI (XO (XO (XO (XI (XO (XI (XI (XI (XO (XO
+    (XO (XI (XI (XO (XI (XI XH)))))))))))))))))))))))))))))))) :: ((Npos (XI
+    (XI (XO (XI (XO (XO (XI (XI (XO (XO (XO (XO (XI (XI (XO (XI (XI (XI (XO
+    (XO (XI (XO (XO (XI (XO (XI (XO (XI (XI (XI
+    XH))))))))))))))))))))))))))))))) :: ((Npos (XO (XI (XI (XO (XO (XI (XO
+    (XO (XO (XI (XO (XI (XI (XO (XO (XO (XI (XO (XO (XO (XO (XO (XI (XO (XI
+    (XO (XO (XI (XO XH)))))))))))))))))))))))))))))) :: ((Npos (XI (XO (XO
+    (XO (XO (XI (XI (XI (XO (XO (XO (XI (XO (XO (XO (XO (XO (XO (XI (XI (XI
+    (XO (XO (XO (XI (XI (XO XH)))))))))))))))))))))))))))) :: ((Npos (XO (XI
+    (XO (XO (XI (XO (XO (XI (XO (XO (XI (XI (XO (XO (XO (XO (XO (XO (XI (XO
+    (XO (XI (XO (XI (XI (XO (XO (XO (XI
+    XH)))))))))))))))))))))))))))))) :: ((Npos (XO (XO (XO (XI (XO (XI (XI
+    (XO (XI (XO (XO (XO (XI (XI (XI (XO (XI (XI (XI (XI (XI (XI (XO (XO (XI
+    (XI (XO (XO (XI XH)))))))))))))))))))))))))))))) :: ((Npos (XO (XI (XI
+    (XI (XI (XO (XO (XO (XI (XI (XI (XI (XI (XO (XI (XI (XO (XI (XO (XI (XI
+    (XI (XI (XO (XO (XO (XI (XI (XO (XO
+    XH))))))))))))))))))))))))))))))) :: ((Npos (XO (XO (XI (XO (XO (XI (XI
+    (XI (XO (XI (XO (XI (XI (XO (XI (XI (XO (XO (XI (XI (XO (XO (XI (XO (XO
+    (XI (XI (XO (XO (XO (XO XH)))))))))))))))))))))))))))))))) :: ((Npos (XI
+    (XO (XI (XO (XO (XO (XO (XO (XI (XO (XI (XO (XO (XI (XI (XO (XI (XO (XI
+    (XO (XO (XO (XO (XO (XI (XI (XO (XO (XI (XI (XO
+    XH)))))))))))))))))))))))))))))))) :: ((Npos (XO (XO (XO (XO (XO (XI (XO
+    (XI (XI (XI (XI (XI (XO (XI (XI (XO (XI (XI (XI (XO (XO (XI (XO (XI (XO
+    (XO (XO (XI (XO (XI XH))))))))))))))))))))))))))))))) :: ((Npos (XO (XI
+    (XI (XO (XO (XO (XI (XI (XO (XO (XI (XI (XI (XI (XO (XO (XI (XO (XO (XI
+    (XI (XI (XI (XO (XI (XO (XI (XO (XO (XO (XO
+    XH)))))))))))))))))))))))))))))))) :: ((Npos (XO (XO (XO (XO (XO (XI (XI
+    (XI (XI (XO (XI (XO (XO (XI (XO (XO (XI (XI (XO (XO (XI (XO (XO (XI (XO
+    (XI (XI (XI (XI (XI (XI XH)))))))))))))))))))))))))))))))) :: ((Npos (XI
+    (XO (XI (XO (XI (XO (XI (XO (XO (XO (XI (XO (XO (XI (XO (XO (XO (XI (XO
+    (XI (XI (XI (XO (XO (XO (XI (XO (XO (XO (XO (XO
+    XH)))))))))))))))))))))))))))))))) :: ((Npos (XO (XO (XI (XI (XI (XI (XO
+    (XO (XI (XO (XI (XI (XI (XI (XI (XO (XI (XO (XO (XI (XI (XO (XI (XI (XI
+    (XO (XI (XI (XO XH)))))))))))))))))))))))))))))) :: ((Npos (XO (XI (XO
+    (XO (XO (XI (XO (XI (XI (XI (XI (XI (XI (XI (XO (XI (XI (XO (XI (XO (XI
+    (XI (XI (XO (XO (XI (XO (XI (XO (XO
+    XH))))))))))))))))))))))))))))))) :: ((Npos (XI (XO (XI (XO (XI (XO (XI
+    (XI (XI (XI (XI (XO (XI (XO (XI (XI (XI (XI (XI (XI (XI (XO (XO (XO (XI
+    (XI (XI (XO (XO (XO XH))))))))))))))))))))))))))))))) :: ((Npos (XO (XI
+    (XI (XO (XI (XO (XO (XI (XO (XO (XO (XO (XI (XO (XI (XI (XI (XO (XI (XI
+    (XO (XO (XO (XI (XO (XI (XI (XI (XI (XO (XO
+    XH)))))))))))))))))))))))))))))))) :: ((Npos (XI (XO (XI (XI (XI (XO (XO
+    (XO (XI (XI (XI (XO (XI (XO (XO (XO (XI (XI (XO (XO (XI (XO (XI (XO (XO
+    (XI (XI (XO (XO XH)))))))))))))))))))))))))))))) :: ((Npos (XO (XI (XO
+    (XI (XI (XI (XI (XO (XI (XI (XO (XI (XO (XI (XI (XI (XO (XI (XI (XI (XO
+    (XO (XO (XI (XO (XO (XI (XO (XO (XI
+    XH))))))))))))))))))))))))))))))) :: ((Npos (XO (XI (XI (XO (XO (XO (XI
+    (XO (XO (XO (XI (XO (XI (XO (XO (XO (XI (XO (XI (XI (XI (XI (XI (XO (XO
+    (XI (XO (XO (XO (XI (XO XH)))))))))))))))))))))))))))))))) :: ((Npos (XI
+    (XO (XO (XO (XO (XI (XI (XO (XI (XO (XO (XO (XI (XO (XO (XI (XI (XI (XO
+    (XI (XI (XO (XO (XI (XO (XI (XO (XI
+    XH))))))))))))))))))))))))))))) :: ((Npos (XO (XI (XI (XI (XO (XI (XI (XO
+    (XI (XI (XO (XO (XI (XO (XO (XI (XI (XI (XO (XO (XI (XI (XO (XI (XI (XO
+    (XI (XO (XI (XI (XI XH)))))))))))))))))))))))))))))))) :: ((Npos (XO (XI
+    (XO (XO (XI (XO (XI (XO (XI (XO (XO (XO (XI (XI (XO (XO (XO (XI (XO (XI
+    (XO (XO (XI (XI (XO (XO (XO (XO (XO (XI (XI
+    XH)))))))))))))))))))))))))))))))) :: ((Npos (XO (XO (XO (XO (XO (XO (XI
+    (XO (XI (XO (XO (XO (XO (XO (XI (XI (XO (XI (XI (XI (XI (XI (XO (XO (XO
+    XH)))))))))))))))))))))))))) :: ((Npos (XI (XO (XO (XO (XO (XO (XO (XO
+    (XI (XO (XI (XO (XO (XO (XO (XI (XI (XO (XI (XI (XI (XI (XI (XO (XI (XI
+    (XO XH)))))))))))))))))))))))))))) :: ((Npos (XI (XI (XO (XI (XO (XI (XI
+    (XO (XI (XO (XO (XI (XO (XI (XO (XI (XO (XI (XI (XI (XO (XO (XI (XO (XI
+    (XO (XI (XO (XI (XO (XI XH)))))))))))))))))))))))))))))))) :: ((Npos (XO
+    (XO (XO (XI (XI (XO (XO (XI (XO (XI (XI (XO (XI (XI (XO (XO (XI (XI (XO
+    (XO (XO (XI (XI (XO (XO (XO (XI (XO (XI (XI
+    XH))))))))))))))))))))))))))))))) :: ((Npos (XO (XO (XO (XO (XI (XO (XO
+    (XO (XO (XI (XO (XI (XI (XI (XO (XO (XO (XO (XI (XI (XO (XO (XI (XI (XI
+    (XO (XI (XI (XO (XI (XI XH)))))))))))))))))))))))))))))))) :: ((Npos (XO
+    (XI (XO (XI (XI (XI (XI (XO (XI (XI (XI (XI (XO (XI (XI (XO (XI (XO (XI
+    (XI (XO (XI (XI (XI (XO (XI (XI (XO (XI (XI (XO
+    XH)))))))))))))))))))))))))))))))) :: ((Npos (XO (XI (XI (XI (XI (XI (XO
+    (XO (XI (XO (XI (XI (XI (XO (XI (XO (XO (XI (XO (XO (XO (XI (XI (XI (XO
+    (XO (XI (XI (XO (XI (XO XH)))))))))))))))))))))))))))))))) :: ((Npos (XO
+    (XO (XO (XO (XI (XI (XI (XI (XO (XO (XO (XO (XO (XI (XO (XI (XO (XI (XI
+    (XI (XI (XO (XO (XO (XI (XO (XO (XO (XI (XI (XI
+    XH)))))))))))))))))))))))))))))))) :: ((Npos (XI (XI (XO (XO (XI (XI (XI
+    (XI (XI (XI (XO (XI (XI (XO (XO (XI (XO (XO (XO (XI (XI (XI (XO (XO (XO
+    (XI (XI (XO (XI (XI (XO XH)))))))))))))))))))))))))))))))) :: ((Npos (XI
+    (XI (XO (XO (XI (XI (XI (XI (XO (XI (XI (XI (XO (XO (XO (XO (XO (XO (XI
+    (XO (XI (XI (XI (XO (XI (XO (XI (XO (XO (XI
+    XH))))))))))))))))))))))))))))))) :: ((Npos (XO (XO (XI (XI (XO (XI (XO
+    (XO (XI (XO (XO (XI (XO (XO (XO (XI (XO (XI (XI (XI (XI (XO (XI (XO (XI
+    (XO (XI (XO (XI (XI (XI XH)))))))))))))))))))))))))))))))) :: ((Npos (XO
+    (XO (XO (XO (XO (XO (XO (XO (XI (XO (XO (XO (XO (XI (XI (XO (XI (XO (XI
+    (XI (XI (XO (XO (XO (XI (XO (XI (XO (XI (XO (XI
+    XH)))))))))))))))))))))))))))))))) :: ((Npos (XI (XO (XI (XI (XO (XO (XI
+    (XI (XO (XI (XO (XI (XI (XO (XI (XO (XO (XI (XO (XO (XO (XI (XI (XO (XI
+    (XI (XI (XI (XI (XO (XO XH)))))))))))))))))))))))))))))))) :: ((Npos (XI
+    (XI (XO (XO (XO (XO (XI (XO (XI (XO (XO (XO (XI (XO (XO (XI (XI (XO (XI
+    (XI (XI (XI (XI (XI (XI (XI (XO (XO (XI (XO
+    XH))))))))))))))))))))))))))))))) :: ((Npos (XI (XO (XI (XO (XO (XO (XO
+    (XI (XO (XI (XI (XO (XI (XI (XI (XO (XO (XI (XO (XO (XO (XI (XO (XI (XI
+    (XI (XI (XI (XI (XI (XO XH)))))))))))))))))))))))))))))))) :: ((Npos (XI
+    (XO (XI (XI (XI (XO (XO (XO (XI (XI (XI (XO (XO (XI (XO (XO (XI (XI (XI
+    (XO (XO (XO (XI (XO (XI (XO (XI (XO (XI (XO
+    XH))))))))))))))))))))))))))))))) :: ((Npos (XO (XO (XO (XI (XI (XO (XI
+    (XI (XO (XI (XO (XO (XI (XI (XI (XI (XI (XO (XO (XI (XO (XI (XO (XI (XI
+    (XI (XI (XO (XI (XO (XO XH)))))))))))))))))))))))))))))))) :: ((Npos (XO
+    (XO (XI (XI (XO (XI (XI (XI (XO (XO (XI (XI (XO (XI (XI (XI (XI (XO (XI
+    (XI (XI (XO (XI (XO (XI (XO (XI (XI (XI
+    XH)))))))))))))))))))))))))))))) :: ((Npos (XI (XI (XO (XO (XO (XI (XI
+    (XI (XI (XO (XO (XI (XO (XO (XI (XO (XI (XO (XI (XI (XI (XO (XO (XI (XO
+    (XI (XI (XI (XO (XI XH))))))))))))))))))))))))))))))) :: ((Npos (XI (XI
+    (XO (XO (XI (XI (XO (XI (XO (XI (XI (XO (XO (XO (XI (XI (XI (XI (XO (XI
+    (XO (XO (XO (XO (XO (XI (XI (XI (XI (XI (XI
+    XH)))))))))))))))))))))))))))))))) :: ((Npos (XI (XO (XO (XO (XO (XI (XI
+    (XO (XO (XO (XO (XI (XO (XO (XI (XI (XO (XI (XI (XO (XO (XO (XO (XI (XO
+    (XI (XI (XI (XO (XI XH))))))))))))))))))))))))))))))) :: ((Npos (XI (XO
+    (XO (XO (XI (XO (XO (XI (XO (XO (XO (XI (XO (XI (XO (XO (XI (XO (XO (XO
+    (XO (XO (XI (XO (XI (XO (XI (XI (XO (XI (XO
+    XH)))))))))))))))))))))))))))))))) :: ((Npos (XI (XO (XI (XI (XO (XO (XO
+    (XO (XI (XO (XO (XO (XI (XO (XI (XI (XI (XI (XI (XI (XI (XO (XI (XO (XI
+    (XI (XO (XO (XO (XO (XI XH)))))))))))))))))))))))))))))))) :: ((Npos (XO
+    (XI (XO (XI (XO (XI (XI (XO (XI (XO (XO (XO (XO (XI (XI (XI (XO (XO (XO
+    (XI (XO (XI (XO (XO (XO (XI (XI (XO (XO (XI (XO
+    XH)))))))))))))))))))))))))))))))) :: ((Npos (XI (XO (XO (XI (XO (XO (XO
+    (XO (XI (XO (XI (XO (XI (XO (XI (XO (XI (XI (XO (XO (XO (XI (XO (XO (XO
+    (XI (XI (XO (XO (XI (XO XH)))))))))))))))))))))))))))))))) :: ((Npos (XO
+    (XI (XO (XO (XI (XO (XI (XI (XO (XO (XI (XI (XI (XO (XO (XO (XI (XO (XO
+    (XI (XI (XO (XO (XO (XI (XO (XO (XI (XI (XI (XO
+    XH)))))))))))))))))))))))))))))))) :: ((Npos (XO (XO (XO (XI (XO (XI (XO
+    (XO (XI (XI (XO (XO (XO (XI (XO (XO (XI (XO (XI (XO (XO (XI (XO (XI (XI
+    (XI (XO (XO (XI (XO (XO XH)))))))))))))))))))))))))))))))) :: ((Npos (XI
+    (XO (XI (XI (XO (XI (XO (XI (XI (XO (XO (XI (XO (XI (XO (XO (XO (XI (XI
+    (XO (XI (XO (XO (XI (XO (XO (XI (XI (XO
+    XH)))))))))))))))))))))))))))))) :: ((Npos (XI (XI (XO (XO (XO (XI (XI
+    (XI (XO (XO (XI (XI (XI (XO (XO (XI (XI (XI (XI (XI (XI (XO (XI (XI (XO
+    (XO (XO (XO (XO (XO XH))))))))))))))))))))))))))))))) :: ((Npos (XI (XO
+    (XI (XO (XI (XI (XI (XI (XO (XO (XO (XI (XO (XO (XO (XO (XI (XO (XO (XI
+    (XO (XO (XO (XO (XO (XO (XO (XO (XO (XI
+    XH))))))))))))))))))))))))))))))) :: ((Npos (XI (XO (XI (XO (XO (XI (XI
+    (XI (XI (XO (XO (XI (XI (XI (XO (XI (XI (XO (XO (XI (XO (XO (XO (XO (XO
+    (XO (XI XH)))))))))))))))))))))))))))) :: ((Npos (XO (XO (XI (XI (XO (XO
+    (XO (XO (XI (XI (XI (XO (XO (XI (XO (XI (XO (XO (XI (XO (XO (XO (XI (XO
+    (XI (XI (XI (XI (XI (XO (XI XH)))))))))))))))))))))))))))))))) :: ((Npos
+    (XI (XO (XI (XI (XI (XO (XO (XI (XI (XI (XO (XI (XO (XO (XO (XO (XO (XI
+    (XI (XO (XI (XO (XI (XI (XI (XO (XO (XI (XI (XO (XI
+    XH)))))))))))))))))))))))))))))))) :: ((Npos (XI (XO (XI (XI (XO (XI (XO
+    (XO (XO (XI (XO (XO (XO (XI (XI (XO (XI (XO (XI (XO (XI (XI (XI (XO (XI
+    (XI (XO (XO (XO (XI (XI XH)))))))))))))))))))))))))))))))) :: ((Npos (XO
+    (XI (XI (XO (XO (XO (XI (XI (XI (XO (XI (XI (XI (XO (XO (XO (XO (XI (XI
+    (XO (XO (XI (XI (XO (XI (XO (XO (XI (XO (XI (XI
+    XH)))))))))))))))))))))))))))))))) :: ((Npos (XO (XI (XO (XO (XO (XO (XO
+    (XO (XI (XI (XI (XI (XO (XO (XI (XO (XI (XI (XI (XO (XO (XO (XI (XI (XO
+    (XO (XO (XI (XI (XO (XO XH)))))))))))))))))))))))))))))))) :: ((Npos (XI
+    (XI (XI (XI (XI (XI (XI (XO (XI (XI (XI (XO (XO (XI (XI (XI (XO (XI (XI
+    (XO (XO (XI (XI (XO (XO (XI (XI (XO (XO (XO
+    XH))))))))))))))))))))))))))))))) :: ((Npos (XO (XO (XI (XO (XO (XO (XI
+    (XI (XI (XI (XO (XO (XI (XI (XI (XI (XI (XO (XO (XI (XI (XI (XI (XI
+    XH))))))))))))))))))))))))) :: ((Npos (XI (XO (XI (XO (XO (XI (XO (XI (XI
+    (XI (XO (XO (XI (XI (XO (XO (XI (XO (XO (XI (XO (XI (XI (XI (XI (XO (XI
+    (XI (XI (XO (XI XH)))))))))))))))))))))))))))))))) :: ((Npos (XO (XI (XO
+    (XI (XI (XI (XO (XI (XI (XO (XO (XO (XI (XI (XI (XI (XO (XI (XO (XI (XO
+    (XI (XI (XI (XI (XO (XO (XO (XO (XI (XI
+    XH)))))))))))))))))))))))))))))))) :: ((Npos (XO (XO (XI (XO (XO (XI (XI
+    (XI (XI (XI (XO (XO (XO (XO (XO (XO (XO (XI (XI (XI (XO (XI (XI (XO (XO
+    (XO (XI (XO (XO (XI (XI XH)))))))))))))))))))))))))))))))) :: ((Npos (XI
+    (XO (XO (XI (XI (XO (XI (XI (XI (XO (XI (XI (XO (XI (XO (XO (XO (XO (XO
+    (XI (XO (XI (XI (XO (XO (XO (XO (XO (XI (XI (XO
+    XH)))))))))))))))))))))))))))))))) :: ((Npos (XO (XO (XI (XO (XO (XI (XI
+    (XO (XI (XI (XO (XO (XO (XO (XO (XO (XO (XI (XO (XI (XI (XI (XO (XO (XO
+    (XI (XI (XO XH))))))))))))))))))))))))))))) :: ((Npos (XI (XI (XO (XO (XO
+    (XO (XI (XO (XO (XI (XO (XO (XI (XO (XO (XO (XO (XI (XO (XO (XI (XI (XO
+    (XI (XO (XO (XI (XI (XO (XO XH))))))))))))))))))))))))))))))) :: ((Npos
+    (XI (XI (XO (XI (XI (XI (XO (XO (XO (XI (XI (XI (XO (XI (XO (XI (XO (XI
+    (XI (XI (XO (XI (XO (XO (XI (XI (XO (XO (XI (XI
+    XH))))))))))))))))))))))))))))))) :: ((Npos (XI (XO (XI (XO (XI (XO (XI
+    (XO (XO (XO (XI (XI (XI (XI (XI (XI (XI (XO (XI (XO (XI (XI (XO (XO (XI
+    (XI (XO (XI (XI (XO (XI XH)))))))))))))))))))))))))))))))) :: ((Npos (XO
+    (XI (XI (XI (XO (XO (XO (XI (XI (XI (XO (XI (XO (XI (XI (XI (XI (XI (XI
+    (XI (XO (XO (XI (XO (XO (XI (XO (XO (XI (XO (XO
+    XH)))))))))))))))))))))))))))))))) :: ((Npos (XI (XO (XI (XO (XI (XO (XI
+    (XI (XO (XO (XI (XI (XO (XO (XO (XI (XI (XO (XO (XO (XO (XI (XI (XO (XO
+    (XO (XI (XO (XO (XI (XO XH)))))))))))))))))))))))))))))))) :: ((Npos (XI
+    (XI (XI (XI (XO (XI (XO (XO (XI (XI (XO (XI (XO (XI (XO (XI (XO (XI (XO
+    (XO (XI (XI (XO (XO (XI (XI (XI (XI (XI (XI
+    XH))))))))))))))))))))))))))))))) :: ((Npos (XI (XO (XO (XO (XI (XI (XI
+    (XI (XI (XI (XO (XI (XI (XI (XO (XO (XO (XO (XI (XO (XI (XI (XO (XI (XI
+    (XO (XI (XO (XO (XI (XO XH)))))))))))))))))))))))))))))))) :: ((Npos (XO
+    (XI (XO (XO (XO (XI (XI (XO (XI (XI (XI (XO (XI (XO (XI (XI (XO (XO (XO
+    (XI (XO (XI (XO (XO (XO (XI (XI (XI (XI (XI (XO
+    XH)))))))))))))))))))))))))))))))) :: ((Npos (XO (XI (XO (XI (XI (XI (XO
+    (XO (XO (XO (XO (XO (XI (XO (XI (XO (XO (XI (XI (XO (XO (XO (XO (XO (XO
+    (XO (XO (XO (XO (XI (XI XH)))))))))))))))))))))))))))))))) :: ((Npos (XI
+    (XI (XO (XI (XO (XI (XI (XO (XI (XO (XI (XO (XO (XI (XI (XO (XI (XO (XI
+    (XO (XO (XI (XO (XO (XO (XO (XO (XI (XI (XO (XI
+    XH)))))))))))))))))))))))))))))))) :: ((Npos (XI (XI (XO (XO (XO (XO (XI
+    (XI (XO (XI (XI (XI (XO (XI (XO (XO (XI (XO (XI (XI (XO (XO (XI (XI (XO
+    (XI (XO (XO (XO (XO XH))))))))))))))))))))))))))))))) :: ((Npos (XI (XO
+    (XI (XI (XI (XO (XO (XI (XI (XI (XO (XO (XI (XI (XI (XI (XI (XO (XI (XO
+    (XO (XO (XI (XI (XO (XO (XO (XO (XO (XI
+    XH))))))))))))))))))))))))))))))) :: ((Npos (XO (XI (XI (XO (XI (XI (XI
+    (XO (XI (XI (XI (XI (XO (XI (XO (XO (XI (XI (XI (XO (XI (XO (XI (XI (XO
+    (XI (XO (XO (XI (XO XH))))))))))))))))))))))))))))))) :: ((Npos (XI (XI
+    (XI (XO (XO (XI (XO (XI (XI (XO (XO (XI (XO (XI (XO (XO (XO (XO (XI (XO
+    (XI (XO (XO (XO (XO (XI (XO (XO (XO (XI (XO
+    XH)))))))))))))))))))))))))))))))) :: ((Npos (XI (XI (XO (XI (XO (XI (XI
+    (XO (XO (XI (XI (XI (XI (XI (XI (XO (XI (XO (XI (XI (XI (XO (XO (XO (XI
+    (XO (XI (XO (XI (XI (XO XH)))))))))))))))))))))))))))))))) :: ((Npos (XO
+    (XI (XI (XO (XI (XI (XI (XI (XI (XI (XO (XI (XI (XI (XI (XI (XO (XI (XO
+    (XO (XI (XO (XO (XI (XI (XI (XO (XI
+    XH))))))))))))))))))))))))))))) :: ((Npos (XI (XO (XI (XI (XO (XI (XI (XI
+    (XI (XO (XO (XI (XO (XI (XO (XO (XI (XI (XO (XO (XO (XO (XO (XI (XI (XI
+    (XI XH)))))))))))))))))))))))))))) :: ((Npos (XO (XO (XI (XO (XO (XO (XI
+    (XI (XO (XO (XO (XI (XO (XI (XI (XO (XO (XI (XO (XI (XO (XI (XI (XI (XO
+    (XO (XI (XI (XI (XO (XI XH)))))))))))))))))))))))))))))))) :: ((Npos (XO
+    (XO (XO (XI (XI (XI (XI (XO (XO (XI (XO (XI (XI (XO (XO (XO (XI (XO (XI
+    (XO (XO (XI (XI (XO (XO (XO (XO (XI (XI (XO (XO
+    XH)))))))))))))))))))))))))))))))) :: ((Npos (XO (XO (XO (XI (XO (XI (XO
+    (XO (XO (XI (XO (XI (XO (XI (XI (XI (XI (XO (XO (XO (XI (XO (XI (XO (XI
+    (XI (XO (XI (XO (XI (XO XH)))))))))))))))))))))))))))))))) :: ((Npos (XO
+    (XI (XI (XO (XI (XI (XO (XO (XI (XO (XI (XO (XI (XO (XO (XI (XI (XI (XI
+    (XO (XO (XI (XO (XO (XI (XO (XI (XO (XI (XO (XO
+    XH)))))))))))))))))))))))))))))))) :: ((Npos (XO (XI (XO (XI (XO (XI (XO
+    (XO (XI (XO (XI (XO (XI (XO (XO (XO (XI (XI (XI (XI (XO (XO (XI (XO (XI
+    (XI (XO (XI (XI (XI (XI XH)))))))))))))))))))))))))))))))) :: ((Npos (XO
+    (XO (XI (XI (XO (XO (XO (XO (XI (XO (XO (XI (XO (XI (XI (XI (XI (XO (XO
+    (XO (XI (XI (XI (XI (XI (XI (XI (XI (XI (XO (XO
+    XH)))))))))))))))))))))))))))))))) :: ((Npos (XI (XI (XI (XO (XI (XO (XO
+    (XI (XI (XI (XO (XI (XI (XO (XO (XI (XI (XO (XO (XO (XO (XO (XI (XO (XI
+    (XO (XO (XO (XO (XO (XO XH)))))))))))))))))))))))))))))))) :: ((Npos (XI
+    (XI (XI (XO (XO (XI (XI (XO (XI (XO (XO (XI (XO (XO (XI (XO (XO (XO (XO
+    (XI (XO (XO (XI (XO (XO (XO (XI (XO (XI (XO (XI
+    XH)))))))))))))))))))))))))))))))) :: ((Npos (XO (XI (XI (XI (XO (XI (XI
+    (XI (XO (XO (XI (XO (XI (XO (XI (XO (XO (XI (XO (XO (XI (XO (XI (XI (XI
+    (XI (XI (XO (XO XH)))))))))))))))))))))))))))))) :: ((Npos (XO (XI (XO
+    (XI (XO (XI (XO (XI (XO (XO (XI (XO (XO (XO (XI (XO (XO (XI (XI (XI (XO
+    (XO (XO (XI (XO (XO (XO (XI (XO
+    XH)))))))))))))))))))))))))))))) :: ((Npos (XO (XI (XO (XI (XI (XI (XO
+    (XO (XO (XI (XI (XO (XI (XO (XI (XI (XO (XO (XO (XO (XO (XI (XO (XO (XO
+    (XI (XI (XI (XI (XO (XI XH)))))))))))))))))))))))))))))))) :: ((Npos (XI
+    (XO (XI (XI (XO (XI (XI (XO (XO (XO (XI (XI (XI (XO (XI (XO (XI (XI (XI
+    (XI (XO (XI (XO (XO (XI (XO (XO (XI (XI (XI (XI
+    XH)))))))))))))))))))))))))))))))) :: ((Npos (XI (XO (XO (XI (XO (XO (XO
+    (XI (XI (XI (XO (XI (XO (XI (XO (XI (XO (XI (XO (XI (XO (XO (XI (XI (XO
+    (XI (XI (XO (XO (XO (XI XH)))))))))))))))))))))))))))))))) :: ((Npos (XO
+    (XO (XO (XI (XO (XI (XO (XO (XO (XI (XI (XI (XO (XI (XI (XI (XI (XI (XI
+    (XO (XO (XI (XO (XO (XO (XO (XO (XI (XI
+    XH)))))))))))))))))))))))))))))) :: ((Npos (XI (XO (XI (XI (XO (XO (XI
+    (XO (XO (XO (XO (XO (XI (XO (XO (XI (XI (XI (XO (XO (XO (XI (XO (XI (XI
+    (XO (XO (XO (XO (XI (XO XH)))))))))))))))))))))))))))))))) :: ((Npos (XO
+    (XO (XI (XO (XO (XO (XO (XI (XO (XO (XO (XI (XO (XI (XI (XO (XI (XO (XI
+    (XI (XI (XI (XO (XI (XO (XI (XO (XI (XI (XI
+    XH))))))))))))))))))))))))))))))) :: ((Npos (XO (XI (XI (XO (XI (XO (XO
+    (XO (XO (XO (XI (XI (XI (XO (XI (XO (XI (XO (XO (XO (XO (XO (XI (XO (XO
+    (XI (XI (XI (XI (XI (XI XH)))))))))))))))))))))))))))))))) :: ((Npos (XO
+    (XI (XI (XI (XI (XO (XO (XO (XO (XO (XI (XI (XI (XO (XI (XI (XO (XI (XI
+    (XI (XI (XI (XI (XI (XO (XI (XI (XI (XI (XI (XO
+    XH)))))))))))))))))))))))))))))))) :: ((Npos (XO (XO (XO (XO (XI (XO (XO
+    (XO (XO (XI (XI (XO (XI (XO (XO (XO (XI (XO (XO (XO (XO (XI (XI (XI (XI
+    (XO (XI XH)))))))))))))))))))))))))))) :: ((Npos (XI (XO (XO (XI (XI (XO
+    (XO (XI (XI (XO (XI (XO (XO (XO (XO (XO (XI (XI (XI (XI (XO (XO (XO (XI
+    (XO (XO (XI (XO (XI XH)))))))))))))))))))))))))))))) :: ((Npos (XO (XO
+    (XI (XI (XO (XO (XO (XI (XI (XO (XO (XO (XI (XI (XO (XO (XO (XI (XO (XI
+    (XI (XO (XO (XI (XO (XI (XI (XO (XO (XO (XO
+    XH)))))))))))))))))))))))))))))))) :: ((Npos (XO (XO (XO (XO (XI (XO (XI
+    (XI (XO (XO (XI (XI (XO (XO (XI (XI (XO (XI (XI (XI (XO (XO (XI (XI (XI
+    (XO (XO (XI (XI (XI XH))))))))))))))))))))))))))))))) :: ((Npos (XO (XI
+    (XI (XI (XO (XO (XO (XI (XI (XO (XO (XI (XO (XI (XO (XI (XO (XI (XO (XI
+    (XO (XO (XO (XO (XO (XO (XO (XO (XO (XI (XI
+    XH)))))))))))))))))))))))))))))))) :: ((Npos (XI (XO (XI (XI (XO (XO (XO
+    (XO (XI (XI (XO (XI (XI (XI (XO (XI (XI (XO (XI (XI (XI (XI (XI (XO (XI
+    (XI (XI (XO (XI (XO (XI XH)))))))))))))))))))))))))))))))) :: ((Npos (XI
+    (XO (XO (XO (XI (XI (XO (XI (XO (XI (XO (XO (XI (XO (XO (XO (XO (XO (XI
+    (XI (XI (XI (XI (XO (XI (XI (XI (XI (XI (XI
+    XH))))))))))))))))))))))))))))))) :: ((Npos (XI (XO (XO (XI (XI (XO (XI
+    (XO (XO (XI (XI (XI (XO (XO (XI (XI (XI (XO (XO (XI (XO (XO (XO (XI (XO
+    (XO (XO (XO (XI (XO XH))))))))))))))))))))))))))))))) :: ((Npos (XI (XO
+    (XO (XI (XI (XI (XO (XI (XI (XO (XO (XO (XO (XO (XO (XO (XO (XO (XI (XO
+    (XO (XO (XI (XO (XO (XI (XI (XI (XO (XI (XO
+    XH)))))))))))))))))))))))))))))))) :: ((Npos (XI (XO (XO (XO (XO (XI (XI
+    (XO (XO (XO (XI (XO (XO (XO (XI (XI (XI (XO (XI (XI (XO (XO (XI (XI (XO
+    (XI (XO (XI (XO (XO (XI XH)))))))))))))))))))))))))))))))) :: ((Npos (XI
+    (XO (XO (XO (XO (XO (XO (XO (XO (XI (XO (XI (XI (XO (XO (XI (XI (XO (XI
+    (XI (XI (XI (XI (XO (XI (XO (XI (XI (XI (XI
+    XH))))))))))))))))))))))))))))))) :: ((Npos (XI (XI (XI (XI (XO (XO (XO
+    (XO (XI (XO (XO (XI (XO (XI (XI (XI (XO (XO (XO (XO (XO (XI (XI (XI (XI
+    (XI (XO (XI (XO (XO (XO XH)))))))))))))))))))))))))))))))) :: ((Npos (XI
+    (XI (XO (XI (XO (XO (XO (XO (XI (XO (XO (XO (XO (XI (XI (XI (XI (XO (XO
+    (XO (XO (XO (XI (XI (XI (XO (XI (XI
+    XH))))))))))))))))))))))))))))) :: ((Npos (XO (XI (XI (XO (XI (XI (XI (XI
+    (XO (XO (XO (XO (XI (XI (XO (XO (XO (XO (XO (XI (XI (XI (XO (XI (XI (XI
+    (XO (XI (XO (XO (XI XH)))))))))))))))))))))))))))))))) :: ((Npos (XO (XI
+    (XI (XI (XO (XO (XI (XI (XI (XI (XO (XO (XI (XO (XO (XO (XO (XO (XO (XI
+    (XO (XO (XO (XO (XI (XO (XI (XI (XO (XO (XO
+    XH)))))))))))))))))))))))))))))))) :: ((Npos (XI (XI (XI (XO (XI (XO (XO
+    (XI (XI (XI (XO (XI (XI (XI (XI (XO (XO (XO (XI (XO (XI (XO (XO (XI (XI
+    (XI (XI (XO (XI (XO (XO XH)))))))))))))))))))))))))))))))) :: ((Npos (XO
+    (XI (XO (XO (XI (XO (XI (XI (XI (XI (XO (XI (XI (XI (XI (XO (XI (XO (XI
+    (XI (XI (XI (XI (XI (XO (XO (XI (XI (XO (XI
+    XH))))))))))))))))))))))))))))))) :: ((Npos (XO (XO (XI (XO (XI (XI (XO
+    (XI (XO (XI (XO (XI (XO (XO (XI (XO (XI (XO (XI (XI (XO (XI (XO (XI (XI
+    (XI (XO (XI (XI (XI (XO XH)))))))))))))))))))))))))))))))) :: ((Npos (XI
+    (XI (XO (XO (XO (XO (XI (XI (XI (XO (XI (XI (XI (XO (XO (XI (XI (XO (XI
+    (XO (XI (XI (XO (XI (XI (XO (XI (XO (XO (XI (XI
+    XH)))))))))))))))))))))))))))))))) :: ((Npos (XI (XO (XO (XO (XI (XO (XO
+    (XI (XO (XI (XI (XI (XI (XI (XO (XO (XO (XO (XO (XI (XI (XO (XI (XO (XI
+    (XO (XO (XO (XI (XO XH))))))))))))))))))))))))))))))) :: ((Npos (XI (XI
+    (XO (XI (XI (XO (XO (XI (XO (XO (XI (XO (XI (XO (XI (XI (XI (XI (XO (XI
+    (XO (XI (XO (XO (XI (XI (XO (XO (XO (XO (XO
+    XH)))))))))))))))))))))))))))))))) :: ((Npos (XO (XO (XO (XI (XO (XO (XI
+    (XO (XO (XO (XO (XI (XI (XI (XO (XI (XO (XI (XO (XO (XI (XO (XI (XO (XO
+    (XO (XO (XO (XO (XI (XO XH)))))))))))))))))))))))))))))))) :: ((Npos (XI
+    (XO (XO (XO (XI (XI (XI (XI (XO (XO (XO (XI (XO (XO (XO (XO (XI (XI (XI
+    (XI (XI (XO (XI (XI (XI (XO (XI XH)))))))))))))))))))))))))))) :: ((Npos
+    (XO (XI (XI (XO (XO (XI (XI (XO (XI (XI (XI (XI (XO (XO (XO (XI (XO (XO
+    (XO (XO (XI (XI (XO (XI (XO (XI (XO (XO (XI (XI (XI
+    XH)))))))))))))))))))))))))))))))) :: ((Npos (XI (XI (XI (XO (XI (XO (XI
+    (XI (XO (XI (XO (XO (XO (XO (XO (XO (XI (XI (XO (XO (XO (XO (XI (XO (XI
+    (XI (XI (XI (XI (XO (XO XH)))))))))))))))))))))))))))))))) :: ((Npos (XI
+    (XI (XI (XO (XI (XI (XI (XI (XI (XO (XI (XI (XI (XO (XO (XO (XI (XO (XI
+    (XI (XI (XI (XI (XO (XO (XI (XO (XO (XI (XO (XI
+    XH)))))))))))))))))))))))))))))))) :: ((Npos (XI (XO (XI (XI (XO (XI (XO
+    (XI (XI (XI (XI (XO (XO (XI (XO (XI (XO (XI (XO (XI (XO (XO (XI (XO (XO
+    (XO (XO (XI (XO (XO XH))))))))))))))))))))))))))))))) :: ((Npos (XI (XI
+    (XI (XI (XO (XI (XI (XO (XI (XO (XI (XO (XI (XI (XI (XO (XI (XI (XO (XI
+    (XI (XI (XO (XI (XI (XI (XO (XO (XI
+    XH)))))))))))))))))))))))))))))) :: ((Npos (XI (XI (XI (XI (XO (XO (XO
+    (XI (XI (XI (XO (XI (XO (XO (XO (XI (XI (XO (XI (XI (XO (XI (XI (XI (XO
+    (XI (XI (XI (XI (XO (XI XH)))))))))))))))))))))))))))))))) :: ((Npos (XI
+    (XO (XI (XO (XO (XI (XO (XO (XI (XI (XO (XO (XO (XI (XI (XI (XO (XO (XO
+    (XO (XO (XI (XO (XI (XO (XI (XO (XO (XI (XI
+    XH))))))))))))))))))))))))))))))) :: ((Npos (XI (XO (XO (XO (XO (XI (XO
+    (XI (XI (XI (XO (XI (XO (XO (XI (XI (XI (XO (XO (XO (XI (XI (XI (XI (XO
+    (XO (XO (XO (XO (XO (XI XH)))))))))))))))))))))))))))))))) :: ((Npos (XI
+    (XI (XI (XO (XO (XI (XO (XI (XI (XI (XI (XI (XI (XO (XI (XO (XI (XO (XO
+    (XO (XI (XO (XI (XI (XO (XO (XO (XI (XI (XI (XO
+    XH)))))))))))))))))))))))))))))))) :: ((Npos (XO (XO (XO (XO (XI (XI (XO
+    (XI (XO (XO (XI (XI (XI (XO (XI (XO (XO (XI (XI (XO (XI (XO (XO (XI (XI
+    (XO (XO (XO (XO (XO (XI XH)))))))))))))))))))))))))))))))) :: ((Npos (XO
+    (XI (XI (XO (XO (XI (XO (XO (XI (XI (XO (XI (XO (XO (XI (XI (XI (XI (XO
+    (XI (XO (XO (XO (XO (XO (XI (XI (XO (XI
+    XH)))))))))))))))))))))))))))))) :: ((Npos (XI (XI (XI (XI (XI (XI (XI
+    (XI (XI (XI (XI (XO (XI (XO (XO (XO (XO (XI (XO (XO (XO (XO (XI (XO (XI
+    (XO (XO (XO (XI (XI (XI XH)))))))))))))))))))))))))))))))) :: ((Npos (XO
+    (XO (XI (XO (XI (XI (XO (XO (XO (XI (XO (XO (XI (XI (XO (XO (XI (XO (XO
+    (XI (XI (XO (XI (XI (XO (XI (XI (XI (XO (XI (XI
+    XH)))))))))))))))))))))))))))))))) :: ((Npos (XI (XO (XO (XI (XO (XO (XO
+    (XI (XO (XI (XI (XO (XO (XI (XO (XO (XO (XO (XI (XI (XI (XO (XI (XO (XO
+    (XO (XO (XO (XI (XO (XI XH)))))))))))))))))))))))))))))))) :: ((Npos (XO
+    (XI (XI (XI (XO (XO (XO (XO (XI (XO (XI (XO (XO (XI (XI (XO (XO (XO (XO
+    (XO (XI (XO (XI (XI (XI (XO (XI (XO (XO (XO
+    XH))))))))))))))))))))))))))))))) :: ((Npos (XI (XI (XI (XI (XI (XO (XI
+    (XO (XI (XO (XI (XO (XI (XO (XO (XO (XI (XO (XI (XO (XO (XO (XO (XO (XI
+    (XO (XO (XI (XO (XI (XO XH)))))))))))))))))))))))))))))))) :: ((Npos (XI
+    (XO (XI (XI (XO (XI (XO (XO (XI (XO (XI (XO (XI (XI (XI (XO (XI (XO (XO
+    (XI (XO (XI (XI (XO (XI (XO (XO (XO (XO (XI
+    XH))))))))))))))))))))))))))))))) :: ((Npos (XI (XO (XI (XO (XO (XO (XO
+    (XI (XO (XO (XO (XI (XI (XI (XO (XI (XI (XO (XI (XI (XO (XI (XO (XI (XI
+    (XO (XO (XI (XI (XI (XO XH)))))))))))))))))))))))))))))))) :: ((Npos (XO
+    (XI (XO (XO (XI (XO (XO (XO (XI (XI (XI (XO (XI (XI (XO (XI (XO (XO (XI
+    (XI (XI (XI (XI (XO (XO (XO (XO (XI (XO (XO (XO
+    XH)))))))))))))))))))))))))))))))) :: ((Npos (XI (XI (XO (XO (XO (XO (XO
+    (XI (XI (XO (XO (XI (XO (XI (XO (XI (XI (XO (XO (XO (XO (XO (XI (XO (XO
+    (XI (XI (XO (XO (XO (XO XH)))))))))))))))))))))))))))))))) :: ((Npos (XI
+    (XO (XO (XO (XO (XI (XI (XI (XI (XO (XO (XI (XI (XI (XO (XI (XI (XO (XO
+    (XO (XI (XO (XI (XO (XO (XO (XO (XI (XI
+    XH)))))))))))))))))))))))))))))) :: ((Npos (XI (XI (XO (XO (XI (XI (XO
+    (XO (XI (XO (XO (XO (XO (XO (XI (XO (XI (XI (XO (XI (XO (XI (XO (XO (XO
+    (XI (XI (XO XH))))))))))))))))))))))))))))) :: ((Npos (XI (XO (XI (XO (XO
+    (XO (XI (XO (XI (XO (XO (XO (XO (XI (XI (XI (XO (XI (XO (XI (XO (XO (XI
+    (XO (XO (XI (XO (XO (XO (XI XH))))))))))))))))))))))))))))))) :: ((Npos
+    (XO (XI (XI (XO (XO (XO (XI (XI (XI (XI (XO (XO (XI (XO (XI (XI (XO (XO
+    (XI (XO (XO (XI (XO (XI (XI (XI (XO (XO (XO (XO (XO
+    XH)))))))))))))))))))))))))))))))) :: ((Npos (XI (XO (XI (XI (XI (XI (XO
+    (XO (XO (XI (XO (XI (XI (XO (XI (XI (XI (XO (XI (XO (XI (XI (XI (XO (XO
+    (XI (XI (XO (XI (XO (XO XH)))))))))))))))))))))))))))))))) :: ((Npos (XO
+    (XO (XI (XO (XI (XI (XI (XI (XI (XO (XO (XO (XO (XI (XO (XI (XO (XI (XI
+    (XI (XO (XO (XI (XI (XO (XO (XI (XO (XI (XO (XO
+    XH)))))))))))))))))))))))))))))))) :: ((Npos (XO (XO (XO (XI (XO (XI (XI
+    (XI (XI (XO (XO (XO (XO (XO (XI (XI (XI (XI (XI (XO (XI (XI (XI (XI (XO
+    (XI (XI (XI (XI (XO (XO XH)))))))))))))))))))))))))))))))) :: ((Npos (XO
+    (XI (XO (XI (XO (XO (XI (XI (XI (XI (XO (XO (XI (XI (XO (XI (XO (XO (XI
+    (XO (XI (XI (XI (XI (XO (XI (XO (XI (XO (XO
+    XH))))))))))))))))))))))))))))))) :: ((Npos (XI (XO (XI (XO (XO (XI (XI
+    (XO (XI (XI (XI (XO (XI (XI (XI (XI (XI (XI (XO (XI (XI (XO (XO (XI (XO
+    (XI (XO (XI (XO (XO (XI XH)))))))))))))))))))))))))))))))) :: ((Npos (XI
+    (XI (XI (XO (XI (XO (XI (XI (XI (XI (XI (XO (XI (XI (XO (XO (XO (XI (XI
+    (XI (XO (XI (XI (XO (XO (XI (XI (XI (XI (XI (XO
+    XH)))))))))))))))))))))))))))))))) :: ((Npos (XI (XI (XI (XI (XI (XO (XI
+    (XI (XO (XO (XO (XO (XO (XO (XO (XO (XO (XI (XO (XO (XI (XI (XI (XI (XI
+    (XO (XO (XO (XO (XI XH))))))))))))))))))))))))))))))) :: ((Npos (XI (XO
+    (XO (XO (XI (XI (XI (XI (XI (XO (XO (XI (XO (XI (XI (XO (XO (XO (XO (XO
+    (XI (XI (XI (XO (XO (XO (XI (XO XH))))))))))))))))))))))))))))) :: ((Npos
+    (XI (XO (XI (XO (XO (XO (XI (XO (XI (XO (XO (XI (XI (XI (XI (XI (XI (XI
+    (XO (XI (XI (XO (XO (XO (XI (XO (XI (XO (XI
+    XH)))))))))))))))))))))))))))))) :: ((Npos (XI (XI (XO (XI (XO (XO (XO
+    (XO (XI (XO (XI (XI (XO (XO (XI (XO (XI (XO (XO (XO (XI (XO (XO (XI (XI
+    (XI (XO (XI (XI (XI (XO XH)))))))))))))))))))))))))))))))) :: ((Npos (XO
+    (XI (XI (XO (XI (XO (XI (XO (XO (XI (XO (XO (XI (XO (XI (XO (XO (XI (XO
+    (XI (XI (XO (XI (XI (XI (XO (XO (XO (XO (XI (XI
+    XH)))))))))))))))))))))))))))))))) :: ((Npos (XO (XO (XI (XO (XO (XO (XI
+    (XO (XO (XI (XI (XI (XO (XI (XO (XI (XI (XO (XI (XO (XI (XI (XI (XI (XI
+    (XI (XI (XO (XI XH)))))))))))))))))))))))))))))) :: ((Npos (XI (XI (XI
+    (XO (XI (XO (XI (XI (XI (XO (XI (XO (XO (XI (XO (XI (XO (XI (XO (XI (XO
+    (XO (XO (XI (XO (XI (XI (XI (XO (XI
+    XH))))))))))))))))))))))))))))))) :: ((Npos (XO (XI (XO (XO (XO (XI (XI
+    (XI (XI (XO (XO (XI (XO (XO (XO (XI (XO (XO (XI (XI (XO (XI (XI (XI (XI
+    (XO (XI (XI (XI (XI XH))))))))))))))))))))))))))))))) :: ((Npos (XO (XO
+    (XI (XI (XO (XO (XO (XO (XO (XI (XI (XI (XI (XI (XO (XI (XO (XO (XO (XI
+    (XI (XI (XI (XO (XO (XO (XO (XO (XI (XI (XO
+    XH)))))))))))))))))))))))))))))))) :: ((Npos (XO (XI (XO (XO (XI (XI (XI
+    (XO (XO (XI (XI (XO (XI (XO (XO (XI (XI (XI (XO (XO (XI (XO (XI (XI (XI
+    (XO (XO (XI (XO (XO XH))))))))))))))))))))))))))))))) :: ((Npos (XI (XI
+    (XO (XI (XI (XI (XI (XO (XI (XO (XO (XI (XO (XI (XI (XI (XI (XO (XO (XO
+    (XI (XI (XI (XO (XI (XI (XO (XO (XO (XO (XO
+    XH)))))))))))))))))))))))))))))))) :: ((Npos (XO (XI (XI (XI (XO (XO (XO
+    (XO (XI (XI (XO (XI (XI (XO (XO (XO (XI (XO (XO (XI (XI (XO (XI (XO (XI
+    (XI (XO (XO (XO (XI XH))))))))))))))))))))))))))))))) :: ((Npos (XO (XI
+    (XI (XO (XI (XI (XO (XI (XO (XI (XI (XO (XI (XO (XI (XO (XO (XO (XO (XI
+    (XI (XI (XO (XO (XO (XI (XI (XO (XI (XO (XO
+    XH)))))))))))))))))))))))))))))))) :: ((Npos (XO (XI (XI (XI (XI (XO (XI
+    (XO (XI (XO (XI (XO (XO (XO (XI (XI (XO (XO (XO (XO (XO (XO (XO (XO (XO
+    (XO (XO (XI (XO (XO (XI XH)))))))))))))))))))))))))))))))) :: ((Npos (XO
+    (XI (XI (XO (XI (XO (XI (XI (XO (XO (XI (XI (XI (XO (XO (XO (XI (XO (XI
+    (XI (XI (XI (XO (XI (XI (XO (XO (XI (XO (XO (XO
+    XH)))))))))))))))))))))))))))))))) :: ((Npos (XI (XO (XO (XI (XO (XI (XI
+    (XI (XI (XO (XO (XO (XO (XO (XO (XO (XI (XO (XI (XI (XI (XI (XI (XI (XI
+    (XI (XO (XI (XI (XI (XO XH)))))))))))))))))))))))))))))))) :: ((Npos (XI
+    (XI (XI (XI (XI (XO (XI (XI (XI (XI (XI (XO (XI (XO (XI (XI (XO (XI (XO
+    (XI (XO (XI (XO (XI (XI (XI (XO (XO (XO (XI (XO
+    XH)))))))))))))))))))))))))))))))) :: ((Npos (XO (XI (XI (XO (XI (XO (XO
+    (XI (XI (XO (XI (XO (XO (XI (XO (XI (XI (XO (XO (XI (XO (XO (XO (XI (XI
+    (XI (XI (XO (XO (XO XH))))))))))))))))))))))))))))))) :: ((Npos (XI (XI
+    (XI (XI (XI (XI (XI (XO (XO (XO (XO (XO (XO (XO (XI (XO (XI (XO (XO (XO
+    (XI (XO (XI (XI (XO (XO (XI (XO (XI (XI (XO
+    XH)))))))))))))))))))))))))))))))) :: ((Npos (XI (XI (XI (XO (XI (XI (XI
+    (XO (XI (XI (XO (XI (XI (XI (XI (XI (XO (XO (XO (XI (XO (XO (XI (XI (XI
+    (XO (XO (XI (XO (XO (XO XH)))))))))))))))))))))))))))))))) :: ((Npos (XI
+    (XO (XI (XI (XO (XI (XI (XO (XO (XI (XI (XI (XO (XI (XO (XO (XI (XO (XO
+    (XI (XI (XI (XI (XO (XO (XI (XI (XI (XI
+    XH)))))))))))))))))))))))))))))) :: ((Npos (XO (XO (XO (XI (XO (XI (XO
+    (XI (XI (XO (XI (XI (XO (XO (XI (XO (XI (XO (XI (XI (XI (XI (XO (XI (XO
+    (XI (XO (XI (XI (XI (XI XH)))))))))))))))))))))))))))))))) :: ((Npos (XI
+    (XO (XI (XO (XO (XI (XO (XI (XO (XO (XO (XO (XI (XI (XI (XI (XO (XI (XO
+    (XO (XO (XI (XI (XI (XO (XI (XO (XI (XI (XI (XI
+    XH)))))))))))))))))))))))))))))))) :: ((Npos (XI (XI (XI (XO (XO (XO (XO
+    (XO (XO (XO (XI (XO (XI (XI (XO (XI (XI (XO (XO (XI (XO (XI (XI (XO (XI
+    (XO (XI (XI (XI (XO (XO XH)))))))))))))))))))))))))))))))) :: ((Npos (XI
+    (XO (XO (XO (XO (XI (XI (XI (XO (XO (XO (XO (XO (XO (XI (XO (XO (XO (XI
+    (XO (XI (XI (XI (XI (XO (XO (XI (XI (XI (XI
+    XH))))))))))))))))))))))))))))))) :: ((Npos (XI (XO (XO (XO (XI (XO (XO
+    (XO (XI (XO (XI (XO (XO (XI (XI (XI (XO (XI (XO (XO (XO (XI (XI (XO (XI
+    (XO (XI (XO (XI (XI (XI XH)))))))))))))))))))))))))))))))) :: ((Npos (XI
+    (XI (XO (XI (XI (XI (XI (XO (XI (XI (XI (XI (XO (XI (XI (XI (XO (XO (XI
+    (XI (XO (XI (XI (XO (XO (XO (XO (XI (XI (XO (XI
+    XH)))))))))))))))))))))))))))))))) :: ((Npos (XI (XO (XI (XI (XO (XI (XI
+    (XI (XO (XO (XI (XO (XO (XO (XO (XI (XI (XO (XI (XO (XO (XI (XO (XI (XO
+    (XO (XI (XO (XI (XI (XI XH)))))))))))))))))))))))))))))))) :: ((Npos (XI
+    (XI (XI (XO (XO (XO (XI (XO (XI (XI (XI (XI (XI (XI (XI (XO (XI (XO (XO
+    (XI (XI (XI (XO (XI (XO (XI (XI (XI (XO (XI
+    XH))))))))))))))))))))))))))))))) :: ((Npos (XO (XO (XI (XO (XI (XO (XI
+    (XO (XO (XI (XO (XI (XI (XI (XO (XO (XO (XO (XO (XO (XI (XO (XO (XI (XO
+    (XI (XO (XO (XO (XI (XI XH)))))))))))))))))))))))))))))))) :: ((Npos (XO
+    (XI (XI (XO (XI (XO (XI (XO (XI (XO (XO (XI (XI (XI (XI (XO (XO (XI (XO
+    (XO (XI (XO (XO (XI (XO (XI (XO (XI
+    XH))))))))))))))))))))))))))))) :: ((Npos (XO (XO (XO (XO (XI (XI (XI (XI
+    (XO (XI (XI (XO (XI (XO (XO (XI (XI (XO (XO (XO (XO (XI (XO (XO (XO (XI
+    (XI (XO (XI (XI (XO XH)))))))))))))))))))))))))))))))) :: ((Npos (XI (XI
+    (XI (XO (XO (XI (XO (XO (XI (XI (XI (XO (XI (XO (XI (XI (XO (XO (XI (XO
+    (XO (XO (XO (XI (XI (XO (XI (XO (XI
+    XH)))))))))))))))))))))))))))))) :: ((Npos (XI (XI (XI (XO (XO (XI (XI
+    (XO (XI (XO (XO (XI (XO (XO (XO (XO (XI (XI (XO (XO (XO (XO (XI (XI (XO
+    (XO (XO (XO (XO (XO (XI XH)))))))))))))))))))))))))))))))) :: ((Npos (XO
+    (XI (XO (XO (XI (XO (XO (XI (XO (XI (XO (XO (XI (XI (XI (XO (XI (XO (XO
+    (XO (XO (XO (XO (XO (XI (XI (XI (XI (XO (XO
+    XH))))))))))))))))))))))))))))))) :: ((Npos (XI (XO (XI (XO (XI (XO (XO
+    (XO (XI (XI (XO (XI (XI (XI (XI (XO (XI (XO (XO (XO (XO (XO (XI (XI (XI
+    (XO (XO (XO (XI (XI (XO XH)))))))))))))))))))))))))))))))) :: ((Npos (XI
+    (XI (XO (XI (XI (XI (XO (XI (XO (XI (XO (XI (XO (XO (XI (XO (XO (XO (XO
+    (XO (XO (XO (XO (XI (XO (XO (XO (XO (XO (XI
+    XH))))))))))))))))))))))))))))))) :: ((Npos (XO (XO (XO (XI (XI (XO (XO
+    (XI (XI (XI (XI (XO (XO (XO (XO (XI (XO (XO (XO (XO (XO (XI (XO (XO (XO
+    (XI (XO (XO (XO (XI (XO XH)))))))))))))))))))))))))))))))) :: ((Npos (XO
+    (XI (XO (XI (XO (XI (XI (XI (XO (XI (XI (XI (XI (XI (XI (XO (XI (XO (XO
+    (XO (XO (XO (XI (XI (XO (XO (XI (XO (XI
+    XH)))))))))))))))))))))))))))))) :: ((Npos (XI (XI (XO (XI (XO (XO (XI
+    (XO (XI (XI (XI (XO (XO (XO (XI (XI (XO (XO (XI (XI (XI (XI (XO (XI (XI
+    (XI (XI (XI (XO (XO (XI XH)))))))))))))))))))))))))))))))) :: ((Npos (XI
+    (XO (XI (XO (XO (XI (XO (XI (XO (XI (XI (XI (XO (XO (XO (XO (XO (XO (XO
+    (XO (XI (XO (XI (XI (XI (XO (XO (XO (XI (XI (XO
+    XH)))))))))))))))))))))))))))))))) :: ((Npos (XO (XO (XI (XO (XI (XI (XO
+    (XO (XO (XI (XI (XI (XI (XO (XO (XO (XO (XO (XI (XI (XO (XI (XI (XI (XI
+    (XI (XI (XO (XO (XI (XI XH)))))))))))))))))))))))))))))))) :: ((Npos (XO
+    (XO (XI (XO (XO (XO (XO (XI (XO (XI (XI (XO (XO (XO (XI (XO (XI (XI (XO
+    (XO (XI (XO (XO (XI (XO (XO (XO (XO (XO
+    XH)))))))))))))))))))))))))))))) :: ((Npos (XI (XO (XI (XO (XO (XI (XO
+    (XI (XO (XO (XO (XI (XI (XO (XO (XO (XI (XO (XI (XI (XI (XO (XI (XI (XO
+    (XI (XO (XI (XI (XO XH))))))))))))))))))))))))))))))) :: ((Npos (XI (XO
+    (XO (XO (XO (XO (XI (XI (XO (XI (XI (XO (XI (XO (XO (XO (XI (XO (XI (XI
+    (XI (XO (XO (XI (XI (XO (XI (XI (XI (XO (XO
+    XH)))))))))))))))))))))))))))))))) :: ((Npos (XO (XO (XO (XO (XO (XO (XO
+    (XI (XO (XI (XI (XI (XI (XI (XO (XI (XO (XO (XO (XI (XI (XO (XI (XO (XI
+    (XO (XO (XO (XO (XO (XO XH)))))))))))))))))))))))))))))))) :: ((Npos (XO
+    (XO (XI (XI (XI (XO (XO (XO (XI (XO (XO (XI (XO (XO (XI (XI (XO (XO (XO
+    (XO (XO (XO (XO (XO (XI (XO (XO (XO (XI (XI (XO
+    XH)))))))))))))))))))))))))))))))) :: ((Npos (XO (XI (XI (XI (XI (XO (XO
+    (XO (XI (XI (XI (XI (XI (XI (XI (XO (XO (XI (XO (XI (XO (XO (XI (XO (XI
+    (XO (XO (XI (XI XH)))))))))))))))))))))))))))))) :: ((Npos (XO (XI (XO
+    (XO (XO (XI (XO (XI (XO (XI (XI (XI (XO (XI (XI (XO (XI (XI (XO (XI (XI
+    (XI (XI (XO (XO (XO (XO (XO (XO (XO
+    XH))))))))))))))))))))))))))))))) :: ((Npos (XI (XI (XO (XO (XI (XI (XO
+    (XO (XI (XO (XO (XI (XI (XO (XO (XI (XI (XI (XI (XI (XO (XO (XI (XI (XI
+    (XO (XI (XI (XI XH)))))))))))))))))))))))))))))) :: ((Npos (XO (XI (XI
+    (XI (XI (XO (XI (XI (XI (XI (XI (XO (XO (XI (XI (XO (XO (XI (XO (XI (XO
+    (XO (XO (XO (XO (XO (XI (XO (XO (XO (XI
+    XH)))))))))))))))))))))))))))))))) :: ((Npos (XI (XO (XI (XI (XI (XI (XO
+    (XO (XI (XO (XO (XI (XO (XI (XO (XI (XI (XI (XO (XI (XI (XI (XI (XI (XO
+    (XI (XO (XI (XO (XO (XO XH)))))))))))))))))))))))))))))))) :: ((Npos (XI
+    (XI (XO (XO (XO (XI (XI (XO (XI (XO (XI (XI (XI (XI (XI (XI (XI (XO (XO
+    (XO (XO (XO (XO (XO (XI (XO (XI (XO (XO
+    XH)))))))))))))))))))))))))))))) :: ((Npos (XO (XI (XI (XI (XI (XO (XI
+    (XO (XO (XO (XO (XO (XI (XO (XO (XO (XO (XO (XO (XO (XI (XO (XO (XO (XO
+    (XI (XO (XO XH))))))))))))))))))))))))))))) :: ((Npos (XI (XO (XO (XI (XO
+    (XI (XO (XI (XO (XI (XI (XI (XI (XI (XI (XI (XO (XI (XO (XO (XI (XO (XI
+    (XI (XI (XO (XI (XI (XO (XI (XI
+    XH)))))))))))))))))))))))))))))))) :: ((Npos (XO (XO (XO (XI (XI (XO (XO
+    (XO (XI (XO (XI (XO (XO (XO (XI (XI (XI (XO (XI (XO (XO (XI (XO (XO (XI
+    (XO (XI (XI (XI (XO XH))))))))))))))))))))))))))))))) :: ((Npos (XO (XO
+    (XO (XO (XO (XI (XI (XO (XO (XI (XI (XO (XI (XI (XI (XO (XI (XI (XO (XO
+    (XI (XI (XI (XO (XI (XI (XO (XI (XO (XO (XI
+    XH)))))))))))))))))))))))))))))))) :: ((Npos (XI (XO (XO (XI (XI (XO (XO
+    (XO (XI (XI (XO (XI (XI (XI (XO (XI (XI (XI (XO (XO (XO (XO (XI (XI (XO
+    (XI (XO (XI (XI (XI XH))))))))))))))))))))))))))))))) :: ((Npos (XO (XO
+    (XO (XO (XI (XO (XI (XO (XO (XI (XO (XO (XI (XI (XI (XO (XO (XO (XO (XO
+    (XI (XO (XI (XO (XO (XO (XO (XI (XO (XI (XO
+    XH)))))))))))))))))))))))))))))))) :: ((Npos (XI (XO (XI (XO (XO (XI (XI
+    (XI (XI (XO (XO (XO (XO (XO (XO (XI (XI (XO (XI (XO (XI (XI (XO (XO (XO
+    (XO (XO (XI (XO XH)))))))))))))))))))))))))))))) :: ((Npos (XO (XO (XO
+    (XO (XI (XI (XO (XO (XO (XO (XI (XI (XI (XO (XO (XI (XO (XO (XI (XI (XI
+    (XI (XI (XO (XO (XI (XO (XO (XI (XO (XO
+    XH)))))))))))))))))))))))))))))))) :: ((Npos (XO (XO (XI (XI (XI (XO (XO
+    (XO (XI (XI (XI (XO (XI (XO (XI (XO (XO (XI (XI (XI (XI (XI (XI (XI (XO
+    (XI (XO (XO (XI (XI (XI XH)))))))))))))))))))))))))))))))) :: ((Npos (XO
+    (XO (XO (XO (XI (XI (XO (XO (XO (XO (XI (XO (XO (XO (XO (XI (XI (XO (XI
+    (XO (XO (XI (XI (XI (XI (XO (XO (XO (XI (XO (XO
+    XH)))))))))))))))))))))))))))))))) :: ((Npos (XO (XO (XI (XI (XI (XI (XO
+    (XI (XO (XO (XO (XI (XI (XO (XO (XI (XI (XI (XI (XI (XI (XO (XI (XO (XO
+    (XI (XI (XI (XI (XO XH))))))))))))))))))))))))))))))) :: ((Npos (XO (XI
+    (XI (XI (XI (XI (XI (XI (XI (XI (XI (XI (XO (XO (XI (XO (XO (XI (XO (XI
+    (XO (XO (XI (XO (XI (XO (XI (XO (XO
+    XH)))))))))))))))))))))))))))))) :: ((Npos (XI (XI (XI (XO (XI (XI (XI
+    (XI (XI (XO (XO (XO (XO (XI (XO (XO (XO (XO (XO (XI (XI (XO (XI (XO (XI
+    (XI (XI (XO (XI (XI (XO XH)))))))))))))))))))))))))))))))) :: ((Npos (XO
+    (XI (XI (XO (XO (XO (XI (XO (XI (XI (XI (XO (XO (XI (XO (XO (XO (XO (XI
+    (XI (XI (XO (XO (XI (XO (XO (XI (XO
+    XH))))))))))))))))))))))))))))) :: ((Npos (XI (XO (XO (XO (XO (XI (XO (XO
+    (XO (XO (XI (XI (XI (XO (XI (XO (XO (XI (XI (XI (XO (XI (XI (XO (XO (XO
+    (XI (XO (XO (XI XH))))))))))))))))))))))))))))))) :: ((Npos (XI (XO (XO
+    (XO (XO (XO (XI (XI (XI (XO (XO (XO (XI (XI (XI (XI (XI (XI (XI (XO (XO
+    (XI (XI (XO (XO (XO (XI (XO (XI
+    XH)))))))))))))))))))))))))))))) :: ((Npos (XO (XO (XI (XO (XO (XI (XO
+    (XI (XO (XI (XO (XI (XI (XI (XI (XI (XI (XI (XI (XI (XO (XO (XI (XI (XO
+    (XO (XI (XI (XO (XO (XI XH)))))))))))))))))))))))))))))))) :: ((Npos (XI
+    (XI (XO (XO (XO (XO (XI (XI (XI (XI (XO (XI (XO (XO (XO (XO (XO (XO (XI
+    (XI (XI (XI (XO (XI (XO (XI (XO (XI (XI (XO
+    XH))))))))))))))))))))))))))))))) :: ((Npos (XI (XO (XO (XI (XO (XO (XI
+    (XI (XO (XI (XI (XO (XI (XI (XO (XO (XO (XI (XI (XO (XO (XI (XO (XI (XO
+    (XI (XO (XO (XO (XI (XI XH)))))))))))))))))))))))))))))))) :: ((Npos (XO
+    (XO (XO (XO (XI (XO (XO (XI (XO (XI (XI (XI (XO (XO (XO (XO (XI (XO (XO
+    (XI (XO (XO (XI (XI (XO (XI (XI (XO (XI (XO
+    XH))))))))))))))))))))))))))))))) :: ((Npos (XI (XI (XI (XO (XO (XO (XI
+    (XI (XO (XI (XI (XI (XO (XI (XI (XO (XO (XI (XI (XI (XI (XO (XO (XO (XI
+    (XO (XO (XO (XI (XI XH))))))))))))))))))))))))))))))) :: ((Npos (XI (XO
+    (XO (XI (XO (XI (XI (XO (XI (XI (XI (XO (XI (XO (XI (XI (XI (XI (XI (XO
+    (XO (XO (XO (XO (XI (XO (XO (XO (XI (XI (XO
+    XH)))))))))))))))))))))))))))))))) :: ((Npos (XO (XO (XI (XI (XI (XO (XO
+    (XI (XI (XI (XI (XI (XO (XI (XI (XO (XO (XO (XO (XI (XO (XI (XI (XO (XO
+    (XI (XO (XO (XI (XO XH))))))))))))))))))))))))))))))) :: ((Npos (XI (XO
+    (XI (XI (XI (XI (XO (XO (XO (XI (XO (XO (XO (XO (XI (XO (XI (XO (XO (XO
+    (XI (XI (XO (XI (XI (XI (XO (XO (XO (XI (XI
+    XH)))))))))))))))))))))))))))))))) :: ((Npos (XI (XI (XI (XO (XO (XO (XO
+    (XI (XI (XO (XI (XO (XI (XI (XO (XI (XO (XO (XO (XO (XO (XO (XI (XO (XO
+    (XI (XI (XI (XI XH)))))))))))))))))))))))))))))) :: ((Npos (XI (XI (XI
+    (XO (XI (XI (XO (XI (XI (XI (XO (XI (XI (XI (XO (XO (XO (XI (XI (XI (XI
+    (XI (XI (XO (XO (XO (XI (XO (XO
+    XH)))))))))))))))))))))))))))))) :: ((Npos (XI (XI (XO (XI (XI (XI (XO
+    (XI (XI (XI (XI (XO (XO (XI (XO (XI (XI (XI (XO (XI (XI (XO (XO (XO (XI
+    (XI (XI (XO (XO (XO (XI XH)))))))))))))))))))))))))))))))) :: ((Npos (XO
+    (XO (XO (XO (XI (XO (XO (XI (XI (XI (XO (XO (XO (XO (XI (XI (XI (XI (XI
+    (XI (XO (XI (XO (XO (XO (XO (XO (XO (XO (XO (XO
+    XH)))))))))))))))))))))))))))))))) :: ((Npos (XO (XI (XI (XI (XI (XI (XO
+    (XO (XI (XI (XI (XO (XO (XI (XO (XI (XI (XI (XO (XO (XO (XO (XO (XI (XO
+    (XI (XO (XI (XO (XO (XI XH)))))))))))))))))))))))))))))))) :: ((Npos (XO
+    (XO (XO (XI (XI (XI (XO (XO (XO (XI (XO (XI (XI (XO (XI (XO (XI (XO (XO
+    (XO (XO (XO (XO (XO (XI (XO (XI (XO (XI (XO (XI
+    XH)))))))))))))))))))))))))))))))) :: ((Npos (XO (XO (XO (XI (XI (XI (XI
+    (XI (XO (XO (XI (XI (XI (XO (XI (XO (XO (XO (XI (XO (XI (XO (XO (XI (XO
+    (XO (XI (XI (XO (XO (XI
+    XH)))))))))))))))))))))))))))))))) :: [])))))))))))))))))))))))))))))))))))))))))))))))))))))))))))))))))))))))))))))))))))))))))))))))))))))))))))))))))))))))))))))))))))))))))))))))))))))))))))))))))))))))))))))))))))))))))))))))))))))))))))))))))))))))))))))))))))))))))))))))))))))))))))))))
+
+(** val rand_gen : bool -> mode -> n -> n -> n -> n outcome **)
+
+let rand_gen wrapping m y i mm =
+  if N.ltb N0 mm
+  then obind
+         (if wrapping
+          then Ok (u32 (N.add y i))
+          else add_w m (Npos (XO (XO (XO (XO (XO XH)))))) y i) (fun s0 ->
+         let x0 =
+           N.modulo s0 (Npos (XO (XO (XO (XO (XO (XO (XO (XO XH)))))))))
+         in
+         obind
+           (add_w m (Npos (XO (XO (XO (XO (XO XH))))))
+             (N.shiftr y (Npos (XO (XO (XO XH))))) i) (fun s1 ->
+           let x1 =
+             N.modulo s1 (Npos (XO (XO (XO (XO (XO (XO (XO (XO XH)))))))))
+           in
+           obind
+             (add_w m (Npos (XO (XO (XO (XO (XO XH))))))
+               (N.shiftr y (Npos (XO (XO (XO (XO XH)))))) i) (fun s2 ->
+             let x2 =
+               N.modulo s2 (Npos (XO (XO (XO (XO (XO (XO (XO (XO XH)))))))))
+             in
+             obind
+               (add_w m (Npos (XO (XO (XO (XO (XO XH))))))
+                 (N.shiftr y (Npos (XO (XO (XO (XI XH)))))) i) (fun s3 ->
+               let x3 =
+                 N.modulo s3 (Npos (XO (XO (XO (XO (XO (XO (XO (XO XH)))))))))
+               in
+               obind (nth_ok v0 (N.to_nat x0)) (fun v4 ->
+                 obind (nth_ok v1 (N.to_nat x1)) (fun v5 ->
+                   obind (nth_ok v2 (N.to_nat x2)) (fun v6 ->
+                     obind (nth_ok v3 (N.to_nat x3)) (fun v7 -> Ok
+                       (N.modulo
+                         (N.coq_lxor (N.coq_lxor (N.coq_lxor v4 v5) v6) v7)
+                         mm)))))))))
+  else Panic PAssert
+
+(** val deg_loop : mode -> n -> n -> nat -> n -> n outcome **)
+
+let rec deg_loop m v w n0 d =
+  match n0 with
+  | O -> Panic PUnreachable
+  | S n' ->
+    obind (nth_ok dEG_F (N.to_nat d)) (fun fd ->
+      if N.ltb v fd
+      then obind
+             (sub_w m (Npos (XO (XO (XO (XO (XO XH)))))) w (Npos (XO XH)))
+             (fun w2 -> Ok (N.min d w2))
+      else deg_loop m v w n' (N.add d (Npos XH)))
+
+(** val deg0 : mode -> n -> n -> n outcome **)
+
+let deg0 m v w =
+  if N.ltb v dEG_V_LIMIT
+  then deg_loop m v w (sub (length dEG_F) (S O)) (Npos XH)
+  else Panic PAssert
+
+(** val intermediate_tuple_gen :
+    bool -> mode -> n -> n -> n -> n -> (((((n * n) * n) * n) * n) * n)
+    outcome **)
+
+let intermediate_tuple_gen wrapping m x w j p1 =
+  obind (mul_w m (Npos (XO (XO (XO (XO (XO XH)))))) j tUPLE_A_MUL) (fun t0 ->
+    obind (add_w m (Npos (XO (XO (XO (XO (XO XH)))))) tUPLE_A_BASE t0)
+      (fun a0 ->
+      obind
+        (if N.eqb (N.modulo a0 (Npos (XO XH))) N0
+         then add_w m (Npos (XO (XO (XO (XO (XO XH)))))) a0 (Npos XH)
+         else Ok a0) (fun a ->
+        obind (add_w m (Npos (XO (XO (XO (XO (XO XH)))))) j (Npos XH))
+          (fun j1 ->
+          obind (mul_w m (Npos (XO (XO (XO (XO (XO XH)))))) tUPLE_B_MUL j1)
+            (fun b ->
+            obind (mul_w m (Npos (XO (XO (XO (XO (XO (XO XH))))))) x a)
+              (fun xa ->
+              obind (add_w m (Npos (XO (XO (XO (XO (XO (XO XH))))))) b xa)
+                (fun s ->
+                let y = u32 (N.modulo s tUPLE_Y_MOD) in
+                obind (rand_gen wrapping m y N0 tUPLE_V_RANGE) (fun v ->
+                  obind (deg0 m v w) (fun d ->
+                    obind
+                      (sub_w m (Npos (XO (XO (XO (XO (XO XH)))))) w (Npos XH))
+                      (fun w1 ->
+                      obind (rand_gen wrapping m y (Npos XH) w1) (fun ra ->
+                        obind
+                          (add_w m (Npos (XO (XO (XO (XO (XO XH)))))) (Npos
+                            XH) ra) (fun a1 ->
+                          obind (rand_gen wrapping m y (Npos (XO XH)) w)
+                            (fun b0 ->
+                            obind
+                              (if N.ltb d (Npos (XO (XO XH)))
+                               then obind
+                                      (rand_gen wrapping m x (Npos (XI XH))
+                                        (Npos (XO XH))) (fun r3 ->
+                                      add_w m (Npos (XO (XO (XO (XO (XO
+                                        XH)))))) (Npos (XO XH)) r3)
+                               else Ok (Npos (XO XH))) (fun d1 ->
+                              obind
+                                (sub_w m (Npos (XO (XO (XO (XO (XO XH))))))
+                                  p1 (Npos XH)) (fun p11 ->
+                                obind
+                                  (rand_gen wrapping m x (Npos (XO (XO XH)))
+                                    p11) (fun ra1 ->
+                                  obind
+                                    (add_w m (Npos (XO (XO (XO (XO (XO
+                                      XH)))))) (Npos XH) ra1) (fun a2 ->
+                                    obind
+                                      (rand_gen wrapping m x (Npos (XI (XO
+                                        XH))) p1) (fun b1 -> Ok (((((d, a1),
+                                      b0), d1), a2), b1)))))))))))))))))))
+
+(** val lt_loop : mode -> nat -> n -> n -> n -> n list outcome **)
+
+let rec lt_loop m n0 a w b =
+  match n0 with
+  | O -> Ok []
+  | S n' ->
+    obind (add_w m (Npos (XO (XO (XO (XO (XO XH)))))) b a) (fun s ->
+      obind (rem_ok s w) (fun b' ->
+        obind (lt_loop m n' a w b') (fun rest -> Ok (b' :: rest))))
+
+(** val pi_skip : mode -> nat -> n -> n -> n -> n -> n outcome **)
+
+let rec pi_skip m fuel a1 p p1 b1 =
+  match fuel with
+  | O -> Panic PFuel
+  | S f ->
+    if N.leb p b1
+    then obind (add_w m (Npos (XO (XO (XO (XO (XO XH)))))) b1 a1) (fun s ->
+           obind (rem_ok s p1) (fun b1' -> pi_skip m f a1 p p1 b1'))
+    else Ok b1
+
+(** val pi_loop :
+    mode -> nat -> nat -> n -> n -> n -> n -> n -> n list outcome **)
+
+let rec pi_loop m fuel n0 a1 w p p1 b1 =
+  match n0 with
+  | O -> Ok []
+  | S n' ->
+    obind (add_w m (Npos (XO (XO (XO (XO (XO XH)))))) b1 a1) (fun s ->
+      obind (rem_ok s p1) (fun b1' ->
+        obind (pi_skip m fuel a1 p p1 b1') (fun b1'' ->
+          obind (add_w m (Npos (XO (XO (XO (XO (XO XH)))))) w b1'') (fun i ->
+            obind (pi_loop m fuel n' a1 w p p1 b1'') (fun rest -> Ok
+              (i :: rest))))))
+
+(** val enc_indices0 :
+    mode -> (((((n * n) * n) * n) * n) * n) -> n -> n -> n -> n list outcome **)
+
+let enc_indices0 m t0 w p p1 =
+  let (p0, b1) = t0 in
+  let (p2, a1) = p0 in
+  let (p3, d1) = p2 in
+  let (p4, b) = p3 in
+  let (d, a) = p4 in
+  obind (assert_ok (N.ltb N0 d)) (fun _ ->
+    obind (assert_ok ((&&) (N.leb (Npos XH) a) (N.ltb a w))) (fun _ ->
+      obind (assert_ok (N.ltb b w)) (fun _ ->
+        obind
+          (assert_ok
+            ((||) (N.eqb d1 (Npos (XO XH))) (N.eqb d1 (Npos (XI XH)))))
+          (fun _ ->
+          obind (assert_ok ((&&) (N.leb (Npos XH) a1) (N.ltb a1 p1)))
+            (fun _ ->
+            obind (assert_ok (N.ltb b1 p1)) (fun _ ->
+              let fuel = N.to_nat p1 in
+              obind (lt_loop m (N.to_nat (N.sub d (Npos XH))) a w b)
+                (fun lt ->
+                obind (pi_skip m fuel a1 p p1 b1) (fun b1' ->
+                  obind (add_w m (Npos (XO (XO (XO (XO (XO XH)))))) w b1')
+                    (fun i0 ->
+                    obind
+                      (pi_loop m fuel (N.to_nat (N.sub d1 (Npos XH))) a1 w p
+                        p1 b1') (fun pis -> Ok (b :: (app lt (i0 :: pis)))))))))))))
+
+(** val zero_matrix : nat -> nat -> n list list **)
+
+let zero_matrix h w =
+  repeat (repeat N0 w) h
+
+(** val list_upd : 'a1 list -> nat -> ('a1 -> 'a1) -> 'a1 list outcome **)
+
+let rec list_upd l i f =
+  match l with
+  | [] -> Panic PIndex
+  | x :: t0 ->
+    (match i with
+     | O -> Ok ((f x) :: t0)
+     | S j -> obind (list_upd t0 j f) (fun t' -> Ok (x :: t')))
+
+(** val list_put : 'a1 list -> nat -> 'a1 -> 'a1 list outcome **)
+
+let rec list_put l i v =
+  match l with
+  | [] -> Panic PIndex
+  | x :: t0 ->
+    (match i with
+     | O -> Ok (v :: t0)
+     | S j -> obind (list_put t0 j v) (fun t' -> Ok (x :: t')))
+
+(** val mset : n list list -> n -> n -> n -> n list list outcome **)
+
+let mset mat i j v =
+  obind (nth_ok mat (N.to_nat i)) (fun row ->
+    obind (list_put row (N.to_nat j) v) (fun row' ->
+      list_put mat (N.to_nat i) row'))
+
+(** val ofor : nat -> n -> (n -> 'a1 -> 'a1 outcome) -> 'a1 -> 'a1 outcome **)
+
+let rec ofor n0 i f s =
+  match n0 with
+  | O -> Ok s
+  | S k -> obind (f i s) (fun s' -> ofor k (N.add i (Npos XH)) f s')
+
+(** val ofold :
+    ('a1 -> 'a2 -> 'a2 outcome) -> 'a1 list -> 'a2 -> 'a2 outcome **)
+
+let rec ofold f l s =
+  match l with
+  | [] -> Ok s
+  | a :: t0 -> obind (f a s) (fun s' -> ofold f t0 s')
+
+(** val set_ldpc : n -> n -> n -> n -> n list list -> n list list outcome **)
+
+let set_ldpc s b w p mat =
+  obind
+    (ofor (N.to_nat b) N0 (fun i mat0 ->
+      obind (obind (div_ok i s) (fun d -> Ok (N.add (Npos XH) d))) (fun a ->
+        obind (rem_ok i s) (fun b0 ->
+          obind (mset mat0 b0 i (Npos XH)) (fun mat1 ->
+            obind (rem_ok (N.add b0 a) s) (fun b1 ->
+              obind (mset mat1 b1 i (Npos XH)) (fun mat2 ->
+                obind (rem_ok (N.add b1 a) s) (fun b2 ->
+                  mset mat2 b2 i (Npos XH)))))))) mat) (fun mat0 ->
+    obind
+      (ofor (N.to_nat s) N0 (fun i mat1 -> mset mat1 i (N.add i b) (Npos XH))
+        mat0) (fun mat1 ->
+      ofor (N.to_nat s) N0 (fun i mat2 ->
+        obind (rem_ok i p) (fun c1 ->
+          obind (mset mat2 i (N.add c1 w) (Npos XH)) (fun mat3 ->
+            obind (rem_ok (N.add i (Npos XH)) p) (fun c2 ->
+              mset mat3 i (N.add c2 w) (Npos XH))))) mat1))
+
+(** val set_enc :
+    mode -> n -> n -> n -> n -> n -> n list -> n list list -> n list list
+    outcome **)
+
+let set_enc m first w p p1 j isis mat =
+  obind
+    (ofold (fun isi st ->
+      let (row, mat0) = st in
+      obind (intermediate_tuple_gen true m isi w j p1) (fun t0 ->
+        obind (enc_indices0 m t0 w p p1) (fun idx ->
+          obind
+            (ofold (fun j0 mat1 -> mset mat1 (N.add row first) j0 (Npos XH))
+              idx mat0) (fun mat1 -> Ok ((N.add row (Npos XH)), mat1)))))
+      isis (N0, mat)) (fun r -> Ok (snd r))
+
+(** val hdpc_step : mode -> n -> n -> n list -> n list outcome **)
+
+let hdpc_step m h j next =
+  obind (oct_alpha (Npos XH)) (fun al ->
+    obind (omapM (fun x -> oct_mul al x) next) (fun col ->
+      obind (rand_gen true m (N.add j (Npos XH)) (Npos (XO (XI XH))) h)
+        (fun rand6 ->
+        obind (sub_w m (Npos (XO (XO (XO (XO (XO (XO XH))))))) h (Npos XH))
+          (fun hm1 ->
+          obind (rand_gen true m (N.add j (Npos XH)) (Npos (XI (XI XH))) hm1)
+            (fun rand7 ->
+            obind (rem_ok (N.add (N.add rand6 rand7) (Npos XH)) h) (fun i2 ->
+              obind
+                (list_upd col (N.to_nat rand6) (fun v ->
+                  N.coq_lxor v (Npos XH))) (fun col0 ->
+                list_upd col0 (N.to_nat i2) (fun v -> N.coq_lxor v (Npos XH)))))))))
+
+(** val hdpc_cols :
+    mode -> n -> nat -> n -> n list -> n list list -> n list list outcome **)
+
+let rec hdpc_cols m h n0 j next acc =
+  match n0 with
+  | O -> Ok acc
+  | S k ->
+    obind (hdpc_step m h j next) (fun col ->
+      hdpc_cols m h k (N.sub j (Npos XH)) col (col :: acc))
+
+(** val transpose_cols : nat -> n list list -> n list list **)
+
+let rec transpose_cols h cols =
+  match h with
+  | O -> []
+  | S k -> (map (fun c -> hd N0 c) cols) :: (transpose_cols k (map tl cols))
+
+(** val generate_hdpc_rows : mode -> n -> n -> n -> n list list outcome **)
+
+let generate_hdpc_rows m kp s h =
+  let n0 = N.add kp s in
+  obind (omapM oct_alpha (rangeN (N.to_nat h))) (fun last_col ->
+    obind (if N.ltb n0 (Npos (XO XH)) then Panic POverflow else Ok ())
+      (fun _ ->
+      obind
+        (hdpc_cols m h (N.to_nat (N.sub n0 (Npos XH)))
+          (N.sub n0 (Npos (XO XH))) last_col (last_col :: [])) (fun cols ->
+        let g = transpose_cols (N.to_nat h) cols in
+        Ok
+        (map (fun pat ->
+          let (i, row) = pat in
+          app row
+            (map (fun t0 -> if N.eqb t0 i then Npos XH else N0)
+              (rangeN (N.to_nat h)))) (combine (rangeN (N.to_nat h)) g)))))
+
+type sysparams = { spK : n; spJ : n; spS : n; spH : n; spW : n; spP : 
+                   n; spP1 : n; spL : n }
+
+(** val sys_params : n -> sysparams outcome **)
+
+let sys_params k =
+  obind (extended_source_block_symbols k) (fun kp ->
+    obind (num_ldpc_symbols k) (fun s ->
+      obind (num_hdpc_symbols k) (fun h ->
+        obind (num_lt_symbols k) (fun w ->
+          obind (num_pi_symbols k) (fun p ->
+            obind (num_intermediate_symbols k) (fun l ->
+              obind (systematic_index kp) (fun j ->
+                obind (calculate_p1 kp) (fun p1 -> Ok { spK = kp; spJ = j;
+                  spS = s; spH = h; spW = w; spP = p; spP1 = p1; spL = l }))))))))
+
+(** val generate_constraint_matrix :
+    mode -> n -> n list -> (n list list * n list list) outcome **)
+
+let generate_constraint_matrix m k isis =
+  obind (sys_params k) (fun sp ->
+    let kp = sp.spK in
+    let j = sp.spJ in
+    let sn = sp.spS in
+    let h = sp.spH in
+    let w = sp.spW in
+    let p = sp.spP in
+    let p1 = sp.spP1 in
+    let l = sp.spL in
+    let b = N.sub w sn in
+    obind (assert_ok (N.leb l (N.add (N.add sn h) (N.of_nat (length isis)))))
+      (fun _ ->
+      let mat =
+        zero_matrix (add (N.to_nat (N.add sn h)) (length isis)) (N.to_nat l)
+      in
+      obind (set_ldpc sn b w p mat) (fun mat0 ->
+        obind (num_lt_symbols kp) (fun w' ->
+          obind (num_pi_symbols kp) (fun p' ->
+            obind (set_enc m (N.add sn h) w' p' p1 j isis mat0) (fun mat1 ->
+              obind (generate_hdpc_rows m kp sn h) (fun hd0 -> Ok (mat1, hd0))))))))
+
+(** val generate_constraint_matrix_no_hdpc :
+    mode -> n -> n list -> n list list outcome **)
+
+let generate_constraint_matrix_no_hdpc m k isis =
+  obind (sys_params k) (fun sp ->
+    let kp = sp.spK in
+    let j = sp.spJ in
+    let sn = sp.spS in
+    let w = sp.spW in
+    let p = sp.spP in
+    let p1 = sp.spP1 in
+    let l = sp.spL in
+    let b = N.sub w sn in
+    obind (assert_ok (N.leb l (N.add sn (N.of_nat (length isis))))) (fun _ ->
+      let mat = zero_matrix (add (N.to_nat sn) (length isis)) (N.to_nat l) in
+      obind (set_ldpc sn b w p mat) (fun mat0 ->
+        obind (num_lt_symbols kp) (fun w' ->
+          obind (num_pi_symbols kp) (fun p' ->
+            set_enc m sn w' p' p1 j isis mat0)))))
+
+(** val full_matrix : n -> n -> n list list -> n list list -> n list list **)
+
+let full_matrix s h bin hdpc =
+  app (firstn (N.to_nat s) bin) (app hdpc (skipn (N.to_nat (N.add s h)) bin))
+
+(** val lenN : 'a1 list -> n **)
+
+let lenN l =
+  N.of_nat (length l)
+
+(** val slice : n list -> n -> n -> n list outcome **)
+
+let slice l a b =
+  if (&&) (N.leb a b) (N.leb b (lenN l))
+  then Ok (firstn (N.to_nat (N.sub b a)) (skipn (N.to_nat a) l))
+  else Panic PIndex
+
+(** val slice_from0 : n list -> n -> n list outcome **)
+
+let slice_from0 l a =
+  if N.leb a (lenN l) then Ok (skipn (N.to_nat a) l) else Panic PIndex
+
+(** val write_slice : n list -> n -> n list -> n list outcome **)
+
+let write_slice dst a src =
+  if N.leb (N.add a (lenN src)) (lenN dst)
+  then Ok
+         (app (firstn (N.to_nat a) dst)
+           (app src (skipn (N.to_nat (N.add a (lenN src))) dst)))
+  else Panic PIndex
+
+(** val enumerate_from : n -> 'a1 list -> (n * 'a1) list **)
+
+let rec enumerate_from i = function
+| [] -> []
+| a :: t0 -> (i, a) :: (enumerate_from (N.add i (Npos XH)) t0)
+
+(** val int_div_ceil : n -> n -> n outcome **)
+
+let int_div_ceil num denom =
+  if N.eqb denom N0
+  then Panic PDivZero
+  else if N.eqb (N.modulo num denom) N0
+       then Ok (u32 (N.div num denom))
+       else Ok (u32 (N.add (N.div num denom) (Npos XH)))
+
+(** val partition0 : n -> n -> (((n * n) * n) * n) outcome **)
+
+let partition0 i j =
+  obind (int_div_ceil i j) (fun il ->
+    obind (div_ok i j) (fun is_ ->
+      let jl = N.sub i (N.mul is_ j) in
+      let js = N.sub j jl in Ok (((il, is_), jl), js)))
+
+(** val push_blocks :
+    nat -> n -> (n -> unit outcome) -> n -> ((n * n) list * n) outcome **)
+
+let rec push_blocks n0 offset chk data_index =
+  match n0 with
+  | O -> Ok ([], data_index)
+  | S n' ->
+    obind (chk (N.add data_index offset)) (fun _ ->
+      obind (push_blocks n' offset chk (N.add data_index offset)) (fun x ->
+        let (rest, last) = x in
+        Ok (((data_index, (N.add data_index offset)) :: rest), last)))
+
+(** val calculate_block_offsets : n -> n -> n -> n -> (n * n) list outcome **)
+
+let calculate_block_offsets f t0 z datalen =
+  obind (int_div_ceil f t0) (fun kt0 ->
+    obind (partition0 kt0 z) (fun x ->
+      let (p, zs) = x in
+      let (p0, zl) = p in
+      let (kl, ks) = p0 in
+      obind (push_blocks (N.to_nat zl) (N.mul kl t0) (fun _ -> Ok ()) N0)
+        (fun x0 ->
+        let (b1, idx1) = x0 in
+        obind
+          (push_blocks (N.to_nat zs) (N.mul ks t0) (fun e ->
+            if N.ltb datalen e
+            then assert_ok (N.ltb datalen (N.mul kt0 t0))
+            else Ok ()) idx1) (fun x1 -> let (b2, _) = x1 in Ok (app b1 b2)))))
+
+(** val encoder_block : n list -> (n * n) -> n list outcome **)
+
+let encoder_block data = function
+| (s, e) ->
+  if N.ltb (lenN data) e
+  then obind (slice_from0 data s) (fun d -> Ok
+         (app d (repeat N0 (N.to_nat (N.sub e (lenN data))))))
+  else slice data s e
+
+(** val extend_symbols :
+    n list -> n -> n list list -> n -> (n list list * n) outcome **)
+
+let rec extend_symbols data bytes symbols offset =
+  match symbols with
+  | [] -> Ok ([], offset)
+  | s :: rest ->
+    obind (slice data offset (N.add offset bytes)) (fun sl ->
+      obind (extend_symbols data bytes rest (N.add offset bytes)) (fun x ->
+        let (rest', off') = x in Ok (((app s sl) :: rest'), off')))
+
+(** val sub_block_loop :
+    n list -> n -> n -> n -> n -> n list -> n list list -> n -> (n list
+    list * n) outcome **)
+
+let rec sub_block_loop data tl0 ts nl al sbs symbols offset =
+  match sbs with
+  | [] -> Ok (symbols, offset)
+  | sb :: rest ->
+    let bytes = if N.ltb sb nl then N.mul tl0 al else N.mul ts al in
+    obind (extend_symbols data bytes symbols offset) (fun x ->
+      let (symbols', offset') = x in
+      sub_block_loop data tl0 ts nl al rest symbols' offset')
+
+(** val chunks : n -> n list -> n list list **)
+
+let chunks t0 l =
+  map (fun k -> firstn (N.to_nat t0) (skipn (N.to_nat (N.mul k t0)) l))
+    (rangeN (N.to_nat (ceil_div (lenN l) t0)))
+
+(** val create_symbols : cfg -> n list -> n list list outcome **)
+
+let create_symbols c data =
+  obind (rem_ok (lenN data) c.cT) (fun r ->
+    obind (assert_ok (N.eqb r N0)) (fun _ ->
+      if N.ltb (Npos XH) c.cN
+      then obind (div_ok (lenN data) c.cT) (fun nsym ->
+             obind (div_ok c.cT c.cAl) (fun q ->
+               obind (partition0 q c.cN) (fun x ->
+                 let (p, ns) = x in
+                 let (p0, nl) = p in
+                 let (tl0, ts) = p0 in
+                 obind
+                   (sub_block_loop data tl0 ts nl c.cAl
+                     (rangeN (N.to_nat (N.add nl ns)))
+                     (repeat [] (N.to_nat nsym)) N0) (fun x0 ->
+                   let (symbols, offset) = x0 in
+                   obind (assert_ok (N.eqb offset (lenN data))) (fun _ -> Ok
+                     symbols)))))
+      else Ok (chunks c.cT data)))
+
+(** val payload_id_new : n -> n -> (n * n) outcome **)
+
+let payload_id_new sbn esi =
+  obind
+    (assert_ok
+      (N.ltb esi (Npos (XO (XO (XO (XO (XO (XO (XO (XO (XO (XO (XO (XO (XO
+        (XO (XO (XO (XO (XO (XO (XO (XO (XO (XO (XO
+        XH))))))))))))))))))))))))))) (fun _ -> Ok (sbn, esi))
+
+(** val source_packets :
+    n -> n list list -> ((n * n) * n list) list outcome **)
+
+let source_packets sbn symbols =
+  omapM (fun im ->
+    obind (payload_id_new sbn (u32 (fst im))) (fun id -> Ok (id, (snd im))))
+    (enumerate_from N0 symbols)
+
+(** val encoder_new : cfg -> n list -> (n * n list list) list outcome **)
+
+let encoder_new c data =
+  obind (calculate_block_offsets c.cF c.cT c.cZ (lenN data)) (fun offs ->
+    omapM (fun ise ->
+      obind (encoder_block data (snd ise)) (fun b ->
+        obind (create_symbols c b) (fun syms -> Ok ((u8 (fst ise)), syms))))
+      (enumerate_from N0 offs))
+
+(** val source_packets_of_object :
+    cfg -> n list -> ((n * n) * n list) list outcome **)
+
+let source_packets_of_object c data =
+  obind (encoder_new c data) (fun encs ->
+    obind (omapM (fun e -> source_packets (fst e) (snd e)) encs) (fun pk ->
+      Ok (concat pk)))
+
+(** val unpack_loop :
+    n -> n -> n -> n -> n -> n list -> n -> n list -> n list -> n -> n -> n
+    list outcome **)
+
+let rec unpack_loop tl0 ts nl al k symbol0 symbol_index sbs result symbol_offset sub_block_offset =
+  match sbs with
+  | [] -> Ok result
+  | sb :: rest ->
+    let bytes = if N.ltb sb nl then N.mul tl0 al else N.mul ts al in
+    let start = N.add sub_block_offset (N.mul bytes symbol_index) in
+    obind (slice symbol0 symbol_offset (N.add symbol_offset bytes))
+      (fun src ->
+      obind (write_slice result start src) (fun result' ->
+        unpack_loop tl0 ts nl al k symbol0 symbol_index rest result'
+          (N.add symbol_offset bytes) (N.add sub_block_offset (N.mul bytes k))))
+
+(** val unpack_sub_blocks :
+    cfg -> n -> n list -> n list -> n -> n list outcome **)
+
+let unpack_sub_blocks c k result symbol0 symbol_index =
+  obind (div_ok c.cT c.cAl) (fun q ->
+    obind (partition0 q c.cN) (fun x ->
+      let (p, ns) = x in
+      let (p0, nl) = p in
+      let (tl0, ts) = p0 in
+      unpack_loop tl0 ts nl c.cAl k symbol0 symbol_index
+        (rangeN (N.to_nat (N.add nl ns))) result N0 N0))
+
+(** val unpack_all :
+    cfg -> n -> (n * n list) list -> n list -> n list outcome **)
+
+let rec unpack_all c k isyms result =
+  match isyms with
+  | [] -> Ok result
+  | p :: rest ->
+    let (i, s) = p in
+    obind (unpack_sub_blocks c k result s i) (fun r' ->
+      unpack_all c k rest r')
+
+(** val block_from_all_source : cfg -> n -> n list list -> n list outcome **)
+
+let block_from_all_source c k symbols =
+  unpack_all c k (enumerate_from N0 symbols)
+    (repeat N0 (N.to_nat (N.mul c.cT k)))
+
+(** val reassemble : cfg -> n list list -> n list **)
+
+let reassemble c blocks =
+  firstn (N.to_nat c.cF) (concat blocks)
+
+(** val map0 : ('a1 -> 'a2 -> 'a3) -> 'a1 list -> 'a2 list -> 'a3 list **)
+
+let rec map0 f l1 l2 =
+  match l1 with
+  | [] -> []
+  | a :: t1 -> (match l2 with
+                | [] -> []
+                | b :: t2 -> (f a b) :: (map0 f t1 t2))
+
+(** val bytes_add : n list -> n list -> n list **)
+
+let bytes_add d s =
+  map0 N.coq_lxor d s
+
+(** val create_d : sysparams -> n list list -> nat -> n list list **)
+
+let create_d sp syms t0 =
+  app (repeat (repeat N0 t0) (N.to_nat (N.add sp.spS sp.spH)))
+    (app syms (repeat (repeat N0 t0) (sub (N.to_nat sp.spK) (length syms))))
+
+(** val gen_intermediate_symbols :
+    mode -> n list list -> nat -> n list list outcome **)
+
+let gen_intermediate_symbols m syms t0 =
+  let k = lenN syms in
+  obind (sys_params k) (fun sp ->
+    obind (generate_constraint_matrix m k (rangeN (N.to_nat sp.spK)))
+      (fun x ->
+      let (bin, hdpc) = x in
+      let a = full_matrix sp.spS sp.spH bin hdpc in
+      (match gauss_solve fmul finv t0 (N.to_nat sp.spL) a
+               (create_d sp syms t0) with
+       | Some c -> Ok c
+       | None -> Panic PUnwrap)))
+
+type sb_encoder = { sbe_id : n; sbe_syms : n list list; sbe_C : n list list;
+                    sbe_T : nat }
+
+(** val sbe_new : mode -> n -> cfg -> n list -> sb_encoder outcome **)
+
+let sbe_new m id c block =
+  obind (create_symbols c block) (fun syms ->
+    obind (gen_intermediate_symbols m syms (N.to_nat c.cT)) (fun c0 -> Ok
+      { sbe_id = id; sbe_syms = syms; sbe_C = c0; sbe_T = (N.to_nat c.cT) }))
+
+(** val enc_into :
+    mode -> n -> n list list -> (((((n * n) * n) * n) * n) * n) -> n list
+    outcome **)
+
+let enc_into m k c t0 =
+  obind (num_lt_symbols k) (fun w ->
+    obind (num_pi_symbols k) (fun p ->
+      obind (calculate_p1 k) (fun p1 ->
+        let (p0, b1) = t0 in
+        let (p2, a1) = p0 in
+        let (p3, d1) = p2 in
+        let (p4, b) = p3 in
+        let (d, a) = p4 in
+        obind (assert_ok ((&&) (N.leb (Npos XH) a) (N.ltb a w))) (fun _ ->
+          obind (assert_ok (N.ltb b w)) (fun _ ->
+            obind
+              (assert_ok
+                ((||) (N.eqb d1 (Npos (XO XH))) (N.eqb d1 (Npos (XI XH)))))
+              (fun _ ->
+              obind (assert_ok ((&&) (N.leb (Npos XH) a1) (N.ltb a1 p1)))
+                (fun _ ->
+                obind (assert_ok (N.ltb b1 p1)) (fun _ ->
+                  obind (nth_ok c (N.to_nat b)) (fun first ->
+                    let fuel = N.to_nat p1 in
+                    obind (lt_loop m (N.to_nat (N.sub d (Npos XH))) a w b)
+                      (fun lt ->
+                      obind (pi_skip m fuel a1 p p1 b1) (fun b1' ->
+                        obind
+                          (add_w m (Npos (XO (XO (XO (XO (XO XH)))))) w b1')
+                          (fun i0 ->
+                          obind
+                            (pi_loop m fuel (N.to_nat (N.sub d1 (Npos XH)))
+                              a1 w p p1 b1') (fun pis ->
+                            ofold (fun i acc ->
+                              obind (nth_ok c (N.to_nat i)) (fun s -> Ok
+                                (bytes_add acc s))) (app lt (i0 :: pis)) first)))))))))))))
+
+(** val sbe_source_packets : sb_encoder -> ((n * n) * n list) list outcome **)
+
+let sbe_source_packets e =
+  source_packets e.sbe_id e.sbe_syms
+
+(** val sbe_repair_packets :
+    mode -> sb_encoder -> n -> n -> ((n * n) * n list) list outcome **)
+
+let sbe_repair_packets m e start n0 =
+  let k = lenN e.sbe_syms in
+  obind (extended_source_block_symbols k) (fun kp ->
+    obind (add_w m (Npos (XO (XO (XO (XO (XO XH)))))) start kp)
+      (fun start_esi ->
+      obind (num_lt_symbols k) (fun w ->
+        obind (systematic_index k) (fun j ->
+          obind (calculate_p1 k) (fun p1 ->
+            omapM (fun i ->
+              obind (add_w m (Npos (XO (XO (XO (XO (XO XH)))))) start_esi i)
+                (fun isi ->
+                obind (intermediate_tuple_gen true m isi w j p1) (fun t0 ->
+                  obind (enc_into m k e.sbe_C t0) (fun data ->
+                    obind
+                      (add_w m (Npos (XO (XO (XO (XO (XO XH)))))) k start)
+                      (fun e1 ->
+                      obind (add_w m (Npos (XO (XO (XO (XO (XO XH)))))) e1 i)
+                        (fun esi ->
+                        obind (payload_id_new e.sbe_id esi) (fun id -> Ok
+                          (id, data)))))))) (rangeN (N.to_nat n0)))))))
+
+(** val encoder_new_full :
+    mode -> cfg -> n list -> sb_encoder list outcome **)
+
+let encoder_new_full m c data =
+  obind (calculate_block_offsets c.cF c.cT c.cZ (lenN data)) (fun offs ->
+    omapM (fun ise ->
+      obind (encoder_block data (snd ise)) (fun b ->
+        sbe_new m (u8 (fst ise)) c b)) (enumerate_from N0 offs))
+
+(** val get_encoded_packets :
+    mode -> sb_encoder list -> n -> ((n * n) * n list) list outcome **)
+
+let get_encoded_packets m encs n0 =
+  obind
+    (omapM (fun e ->
+      obind (sbe_source_packets e) (fun s ->
+        obind (sbe_repair_packets m e N0 n0) (fun r -> Ok (app s r)))) encs)
+    (fun pk -> Ok (concat pk))
+
+type sb_decoder = { sbd_id : n; sbd_cfg : cfg; sbd_K : n;
+                    sbd_src : n list option list;
+                    sbd_rep : (n * n list) list; sbd_nsrc : n;
+                    sbd_esis : n list; sbd_decoded : bool }
+
+(** val sbd_new : n -> cfg -> n -> sb_decoder outcome **)
+
+let sbd_new id c block_length =
+  obind (int_div_ceil block_length c.cT) (fun k -> Ok { sbd_id = id;
+    sbd_cfg = c; sbd_K = k; sbd_src = (repeat None (N.to_nat k)); sbd_rep =
+    []; sbd_nsrc = N0; sbd_esis = []; sbd_decoded = false })
+
+(** val mem_N : n -> n list -> bool **)
+
+let mem_N x l =
+  existsb (N.eqb x) l
+
+(** val sbd_add :
+    mode -> sb_decoder -> ((n * n) * n list) -> sb_decoder outcome **)
+
+let sbd_add m d = function
+| (p, payload) ->
+  let (sbn, esi) = p in
+  obind (assert_ok (N.eqb d.sbd_id sbn)) (fun _ ->
+    if mem_N esi d.sbd_esis
+    then Ok d
+    else if N.leb d.sbd_K esi
+         then Ok { sbd_id = d.sbd_id; sbd_cfg = d.sbd_cfg; sbd_K = d.sbd_K;
+                sbd_src = d.sbd_src; sbd_rep =
+                (app d.sbd_rep ((esi, payload) :: [])); sbd_nsrc =
+                d.sbd_nsrc; sbd_esis = (esi :: d.sbd_esis); sbd_decoded =
+                d.sbd_decoded }
+         else obind (list_put d.sbd_src (N.to_nat esi) (Some payload))
+                (fun src' ->
+                obind
+                  (add_w m (Npos (XO (XO (XO (XO (XO XH)))))) d.sbd_nsrc
+                    (Npos XH)) (fun n' -> Ok { sbd_id = d.sbd_id; sbd_cfg =
+                  d.sbd_cfg; sbd_K = d.sbd_K; sbd_src = src'; sbd_rep =
+                  d.sbd_rep; sbd_nsrc = n'; sbd_esis = (esi :: d.sbd_esis);
+                  sbd_decoded = d.sbd_decoded })))
+
+(** val present_sources : sb_decoder -> (n * n list) list **)
+
+let present_sources d =
+  flat_map (fun ix ->
+    match snd ix with
+    | Some s -> ((fst ix), s) :: []
+    | None -> []) (enumerate_from N0 d.sbd_src)
+
+(** val rebuild_source_symbol :
+    mode -> sysparams -> n list list -> n -> n list outcome **)
+
+let rebuild_source_symbol m sp c i =
+  obind (intermediate_tuple_gen true m i sp.spW sp.spJ sp.spP1) (fun t0 ->
+    obind (enc_indices0 m t0 sp.spW sp.spP sp.spP1) (fun idx ->
+      match idx with
+      | [] -> Panic PIndex
+      | i0 :: rest ->
+        obind (nth_ok c (N.to_nat i0)) (fun first ->
+          ofold (fun j acc ->
+            obind (nth_ok c (N.to_nat j)) (fun s -> Ok (bytes_add acc s)))
+            rest first)))
+
+(** val sbd_finish :
+    mode -> sb_decoder -> sysparams -> n list list -> n list outcome **)
+
+let sbd_finish m d sp c =
+  let c0 = d.sbd_cfg in
+  ofold (fun ix result ->
+    match snd ix with
+    | Some s -> unpack_sub_blocks c0 d.sbd_K result s (fst ix)
+    | None ->
+      obind (rebuild_source_symbol m sp c (fst ix)) (fun s ->
+        unpack_sub_blocks c0 d.sbd_K result s (fst ix)))
+    (enumerate_from N0 d.sbd_src) (repeat N0 (N.to_nat (N.mul c0.cT d.sbd_K)))
+
+(** val check_len : nat -> n list -> n list outcome **)
+
+let check_len t0 s =
+  if eqb (length s) t0 then Ok s else Panic PAssert
+
+(** val sbd_try :
+    mode -> sb_decoder -> (n list option * sb_decoder) outcome **)
+
+let sbd_try m d =
+  let c = d.sbd_cfg in
+  let k = d.sbd_K in
+  let t0 = N.to_nat c.cT in
+  obind (extended_source_block_symbols k) (fun kp ->
+    let set_decoded = fun b -> { sbd_id = d.sbd_id; sbd_cfg = c; sbd_K = k;
+      sbd_src = d.sbd_src; sbd_rep = d.sbd_rep; sbd_nsrc = d.sbd_nsrc;
+      sbd_esis = d.sbd_esis; sbd_decoded = b }
+    in
+    if N.ltb (lenN d.sbd_esis) k
+    then Ok (None, d)
+    else if N.eqb d.sbd_nsrc k
+         then obind
+                (omapM (fun o ->
+                  match o with
+                  | Some s -> Ok s
+                  | None -> Panic PUnwrap) d.sbd_src) (fun syms ->
+                obind (block_from_all_source c k syms) (fun r -> Ok ((Some
+                  r), (set_decoded true))))
+         else obind (sys_params k) (fun sp ->
+                let npad = N.sub kp k in
+                let isis =
+                  app (map fst (present_sources d))
+                    (app (map (fun i -> N.add k i) (rangeN (N.to_nat npad)))
+                      (map (fun r -> N.add (fst r) npad) d.sbd_rep))
+                in
+                obind
+                  (omapM (fun x -> check_len t0 (snd x)) (present_sources d))
+                  (fun srcs ->
+                  obind (omapM (fun x -> check_len t0 (snd x)) d.sbd_rep)
+                    (fun reps ->
+                    let body =
+                      app srcs
+                        (app (repeat (repeat N0 t0) (N.to_nat npad)) reps)
+                    in
+                    let l = sp.spL in
+                    obind
+                      (if N.leb l (N.add sp.spS (lenN isis))
+                       then obind
+                              (generate_constraint_matrix_no_hdpc m k isis)
+                              (fun a ->
+                              let d0 =
+                                app (repeat (repeat N0 t0) (N.to_nat sp.spS))
+                                  body
+                              in
+                              (match gauss_solve fmul finv t0 (N.to_nat l) a
+                                       d0 with
+                               | Some c0 ->
+                                 obind (sbd_finish m d sp c0) (fun r -> Ok
+                                   (Some r))
+                               | None -> Ok None))
+                       else Ok None) (fun r3a ->
+                      match r3a with
+                      | Some r -> Ok ((Some r), (set_decoded true))
+                      | None ->
+                        obind (generate_constraint_matrix m k isis) (fun x ->
+                          let (bin, hdpc) = x in
+                          let a = full_matrix sp.spS sp.spH bin hdpc in
+                          let d0 =
+                            app
+                              (repeat (repeat N0 t0)
+                                (N.to_nat (N.add sp.spS sp.spH))) body
+                          in
+                          (match gauss_solve fmul finv t0 (N.to_nat l) a d0 with
+                           | Some c0 ->
+                             obind (sbd_finish m d sp c0) (fun r -> Ok ((Some
+                               r), (set_decoded true)))
+                           | None -> Ok (None, (set_decoded false)))))))))
+
+(** val sbd_decode :
+    mode -> sb_decoder -> ((n * n) * n list) list -> (n list
+    option * sb_decoder) outcome **)
+
+let sbd_decode m d pkts =
+  obind (ofold (fun p d0 -> sbd_add m d0 p) pkts d) (fun d' -> sbd_try m d')
+
+type decoder = { dec_cfg : cfg; dec_sbd : sb_decoder list;
+                 dec_blocks : n list option list }
+
+(** val dec_new : cfg -> decoder outcome **)
+
+let dec_new c =
+  obind (int_div_ceil c.cF c.cT) (fun kt0 ->
+    obind (partition0 kt0 c.cZ) (fun x ->
+      let (p, zs) = x in
+      let (p0, zl) = p in
+      let (kl, ks) = p0 in
+      obind
+        (omapM (fun i -> sbd_new (u8 i) c (N.mul kl c.cT))
+          (rangeN (N.to_nat zl))) (fun l1 ->
+        obind
+          (omapM (fun i -> sbd_new (u8 (N.add zl i)) c (N.mul ks c.cT))
+            (rangeN (N.to_nat zs))) (fun l2 -> Ok { dec_cfg = c; dec_sbd =
+          (app l1 l2); dec_blocks = (repeat None (N.to_nat (N.add zl zs))) }))))
+
+(** val dec_result : decoder -> n list option **)
+
+let dec_result d =
+  if forallb (fun b -> match b with
+                       | Some _ -> true
+                       | None -> false) d.dec_blocks
+  then Some
+         (reassemble d.dec_cfg
+           (flat_map (fun b -> match b with
+                               | Some x -> x :: []
+                               | None -> []) d.dec_blocks))
+  else None
+
+(** val dec_add : mode -> decoder -> ((n * n) * n list) -> decoder outcome **)
+
+let dec_add m d pkt =
+  let bn = N.to_nat (fst (fst pkt)) in
+  obind (nth_ok d.dec_blocks bn) (fun blk ->
+    match blk with
+    | Some _ -> Ok d
+    | None ->
+      obind (nth_ok d.dec_sbd bn) (fun sd ->
+        obind (sbd_decode m sd (pkt :: [])) (fun x ->
+          let (r, sd') = x in
+          obind (list_put d.dec_sbd bn sd') (fun sbds ->
+            obind (list_put d.dec_blocks bn r) (fun blks -> Ok { dec_cfg =
+              d.dec_cfg; dec_sbd = sbds; dec_blocks = blks })))))
+
+(** val dec_decode :
+    mode -> decoder -> ((n * n) * n list) -> (n list option * decoder) outcome **)
+
+let dec_decode m d pkt =
+  obind (dec_add m d pkt) (fun d' -> Ok ((dec_result d'), d'))
+
+(** val argn : n list -> nat -> n **)
+
+let argn l i =
+  nth i l N0
+
+(** val cfg_of : n list -> cfg **)
+
+let cfg_of a =
+  { cF = (argn a O); cT = (argn a (S O)); cZ = (argn a (S (S O))); cN =
+    (argn a (S (S (S O)))); cAl = (argn a (S (S (S (S O))))) }
+
+(** val flat_packets : ((n * n) * n list) list -> n list **)
+
+let flat_packets l =
+  flat_map (fun p -> (fst (fst p)) :: ((snd (fst p)) :: (snd p))) l
+
+(** val enc1l : n list outcome -> n list **)
+
+let enc1l = function
+| Ok l -> (Npos XH) :: l
+| Panic _ -> N0 :: (N0 :: [])
+
+(** val cfg_guard : mode -> cfg -> unit outcome **)
+
+let cfg_guard _ c =
+  obind
+    (assert_ok
+      (N.leb c.cF (Npos (XI (XI (XO (XO (XI (XO (XI (XO (XI (XO (XO (XI (XO
+        (XO (XO (XI (XI (XO (XO (XO (XI (XO (XI (XI (XI (XO (XI (XO (XI (XI
+        (XI (XO (XI (XI (XO (XI (XI (XO (XI
+        XH)))))))))))))))))))))))))))))))))))))))))) (fun _ ->
+    obind (rem_ok c.cT c.cAl) (fun r ->
+      obind (assert_ok (N.eqb r N0)) (fun _ ->
+        if (&&) (negb (N.eqb c.cT N0)) (negb (N.eqb c.cZ N0))
+        then assert_ok
+               (N.leb (ceil_div (ceil_div c.cF c.cT) c.cZ) (Npos (XI (XI (XO
+                 (XO (XI (XO (XI (XO (XO (XO (XI (XI (XI (XO (XI
+                 XH)))))))))))))))))
+        else Ok ())))
+
+(** val run_enc_packets : mode -> n list -> n list **)
+
+let run_enc_packets m a =
+  enc1l
+    (let c = cfg_of a in
+     obind (cfg_guard m c) (fun _ ->
+       obind (encoder_new_full m c (skipn (S (S (S (S (S (S O)))))) a))
+         (fun encs ->
+         obind (get_encoded_packets m encs (argn a (S (S (S (S (S O)))))))
+           (fun pk -> Ok (flat_packets pk)))))
+
+(** val run_repair_window : mode -> n list -> n list **)
+
+let run_repair_window m a =
+  enc1l
+    (let c = cfg_of a in
+     obind (cfg_guard m c) (fun _ ->
+       obind
+         (encoder_new_full m c (skipn (S (S (S (S (S (S (S (S O)))))))) a))
+         (fun encs ->
+         obind (nth_ok encs (N.to_nat (argn a (S (S (S (S (S O))))))))
+           (fun e ->
+           obind
+             (sbe_repair_packets m e (argn a (S (S (S (S (S (S O)))))))
+               (argn a (S (S (S (S (S (S (S O))))))))) (fun pk -> Ok
+             (flat_packets pk))))))
+
+(** val triples3 : nat -> n list -> ((n * n) * n) list **)
+
+let rec triples3 n0 l =
+  match n0 with
+  | O -> []
+  | S k ->
+    (match l with
+     | [] -> []
+     | x :: l0 ->
+       (match l0 with
+        | [] -> []
+        | y :: l1 ->
+          (match l1 with
+           | [] -> []
+           | z :: t0 -> ((x, y), z) :: (triples3 k t0))))
+
+(** val packet_of :
+    mode -> sb_encoder list -> n -> n -> ((n * n) * n list) outcome **)
+
+let packet_of m encs sbn esi =
+  obind (nth_ok encs (N.to_nat sbn)) (fun e ->
+    let k = lenN e.sbe_syms in
+    if N.ltb esi k
+    then obind (sbe_source_packets e) (fun src -> nth_ok src (N.to_nat esi))
+    else obind (sbe_repair_packets m e (N.sub esi k) (Npos XH)) (fun r ->
+           nth_ok r O))
+
+(** val list_eqb : n list -> n list -> bool **)
+
+let list_eqb =
+  vec_eqb
+
+(** val flag_of : n list option -> n list option -> n * n list option **)
+
+let flag_of first = function
+| Some b ->
+  (match first with
+   | Some f ->
+     ((if list_eqb f b then Npos XH else Npos (XI (XO (XO XH)))), first)
+   | None -> ((Npos XH), (Some b)))
+| None -> (N0, first)
+
+(** val run_codec_hist : mode -> n list -> n list **)
+
+let run_codec_hist m a =
+  enc1l
+    (let c = cfg_of a in
+     obind (cfg_guard m c) (fun _ ->
+       let n0 = N.to_nat (argn a (S (S (S (S (S (S O))))))) in
+       let steps = triples3 n0 (skipn (S (S (S (S (S (S (S O))))))) a) in
+       let data =
+         skipn (add (S (S (S (S (S (S (S O))))))) (mul (S (S (S O))) n0)) a
+       in
+       obind (encoder_new_full m c data) (fun encs ->
+         obind (dec_new c) (fun d0 ->
+           obind
+             (ofold (fun st acc ->
+               let (p, d) = acc in
+               let (p0, _) = p in
+               let (flags, first) = p0 in
+               let (y, esi) = st in
+               let (_, sbn) = y in
+               obind (packet_of m encs sbn esi) (fun p1 ->
+                 obind (dec_decode m d p1) (fun x ->
+                   let (res, d') = x in
+                   let (fl, first') = flag_of first res in
+                   Ok ((((app flags (fl :: [])), first'), res), d')))) steps
+               ((([], None), None), d0)) (fun r ->
+             let (p, _) = r in
+             let (p0, last) = p in
+             let (flags, _) = p0 in
+             Ok (app flags (match last with
+                            | Some b -> b
+                            | None -> [])))))))
+
+(** val take_batches : nat -> n list -> n list list * n list **)
+
+let rec take_batches n0 l =
+  match n0 with
+  | O -> ([], l)
+  | S k ->
+    (match l with
+     | [] -> ([], [])
+     | len :: t0 ->
+       let b = firstn (N.to_nat len) t0 in
+       let (bs, rest) = take_batches k (skipn (N.to_nat len) t0) in
+       ((b :: bs), rest))
+
+(** val run_sbd_hist : mode -> n list -> n list **)
+
+let run_sbd_hist m a =
+  enc1l
+    (let k = argn a O in
+     let t0 = argn a (S O) in
+     let c = { cF = (N.mul k t0); cT = t0; cZ = (Npos XH); cN =
+       (argn a (S (S O))); cAl = (argn a (S (S (S O)))) }
+     in
+     obind (cfg_guard m c) (fun _ ->
+       let (batches, data) =
+         take_batches (N.to_nat (argn a (S (S (S (S (S O)))))))
+           (skipn (S (S (S (S (S (S O)))))) a)
+       in
+       obind (sbe_new m N0 c data) (fun e ->
+         obind (sbd_new N0 c (N.mul k t0)) (fun d0 ->
+           obind
+             (ofold (fun b acc ->
+               let (p, d) = acc in
+               let (p0, _) = p in
+               let (flags, first) = p0 in
+               obind (omapM (fun esi -> packet_of m (e :: []) N0 esi) b)
+                 (fun pk ->
+                 obind (sbd_decode m d pk) (fun x ->
+                   let (res, d') = x in
+                   let (fl, first') = flag_of first res in
+                   Ok ((((app flags (fl :: [])), first'), res), d'))))
+               batches ((([], None), None), d0)) (fun r ->
+             let (p, _) = r in
+             let (p0, last) = p in
+             let (flags, _) = p0 in
+             Ok (app flags (match last with
+                            | Some b -> b
+                            | None -> [])))))))
+
+(** val run_intermediate : mode -> n list -> n list **)
+
+let run_intermediate m a =
+  enc1l
+    (let t0 = argn a O in
+     let data = skipn (S (S (S O))) a in
+     obind (div_ok (lenN data) t0) (fun k ->
+       let c = { cF = (N.mul k t0); cT = t0; cZ = (Npos XH); cN = (Npos XH);
+         cAl = (Npos XH) }
+       in
+       obind (cfg_guard m c) (fun _ ->
+         obind (sbe_new m N0 c data) (fun e -> Ok (concat e.sbe_C)))))
+
+(** val spec_params : n -> cparams option **)
+
+let spec_params k =
+  match sys_params k with
+  | Ok sp ->
+    Some { cK = sp.spK; cJ = sp.spJ; cS = sp.spS; cH = sp.spH; cW = sp.spW;
+      cP1 = sp.spP1 }
+  | Panic _ -> None
+
+(** val run_spec_block_packets : n list -> n list **)
+
+let run_spec_block_packets a =
+  let t0 = argn a O in
+  let data = skipn (S (S (S O))) a in
+  let k = N.div (lenN data) t0 in
+  (match spec_params k with
+   | Some p ->
+     let tn = N.to_nat t0 in
+     let syms = chunks t0 data in
+     let l = N.to_nat (cL p) in
+     let d =
+       app (repeat (repeat N0 tn) (N.to_nat (N.add p.cS p.cH)))
+         (app syms (repeat (repeat N0 tn) (N.to_nat (N.sub p.cK k))))
+     in
+     (match gauss_solve fmul finv tn l (a_rfc p (rangeN (N.to_nat p.cK))) d with
+      | Some c ->
+        (Npos
+          XH) :: (app
+                   (flat_map (fun i ->
+                     N0 :: (i :: (nth (N.to_nat i) syms [])))
+                     (rangeN (N.to_nat k)))
+                   (flat_map (fun i ->
+                     let esi = N.add (N.add k (argn a (S O))) i in
+                     N0 :: (esi :: (enc p tn c
+                                     (tuple_of p (N.add esi (N.sub p.cK k))))))
+                     (rangeN (N.to_nat (argn a (S (S O)))))))
+      | None -> N0 :: (N0 :: []))
+   | None -> N0 :: (N0 :: []))
+
+(** val run_layout_packets : mode -> n list -> n list **)
+
+let run_layout_packets m a =
+  enc1l
+    (let c = cfg_of a in
+     obind (cfg_guard m c) (fun _ ->
+       obind (source_packets_of_object c (skipn (S (S (S (S (S O))))) a))
+         (fun pk -> Ok (flat_packets pk))))
+
+(** val rotate : nat -> 'a1 list -> 'a1 list **)
+
+let rotate n0 l =
+  let r = modulo n0 (add (length l) (S O)) in app (skipn r l) (firstn r l)
+
+(** val run_layout_roundtrip : mode -> n list -> n list **)
+
+let run_layout_roundtrip m a =
+  enc1l
+    (let c = cfg_of a in
+     obind (cfg_guard m c) (fun _ ->
+       obind (source_packets_of_object c (skipn (S (S (S (S (S (S O)))))) a))
+         (fun pk ->
+         obind (dec_new c) (fun d0 ->
+           obind
+             (ofold (fun p acc ->
+               obind (dec_decode m (snd acc) p) (fun x ->
+                 let (res, d') = x in Ok (res, d')))
+               (rotate (N.to_nat (argn a (S (S (S (S (S O))))))) pk) (None,
+               d0)) (fun r -> Ok
+             (match fst r with
+              | Some b -> (Npos XH) :: b
+              | None -> N0 :: []))))))
+
+(** val run_spec_layout_packets : n list -> n list **)
+
+let run_spec_layout_packets a =
+  (Npos
+    XH) :: (flat_packets
+             (source_packets_spec (cfg_of a) (skipn (S (S (S (S (S O))))) a)))
 
 (** val pcode : pclass -> n **)
 
@@ -1930,9 +11883,9 @@ let run_octet f a =
         | XH -> enc1 (oct_mul (arg a O) (arg a (S O))))
      | XH -> (Npos XH) :: ((oct_add (arg a O) (arg a (S O))) :: []))
 
-(** val b2n : bool -> n **)
+(** val b2n0 : bool -> n **)
 
-let b2n = function
+let b2n0 = function
 | true -> Npos XH
 | false -> N0
 
@@ -1948,7 +11901,7 @@ let oti_list = function
 | (p, al) ->
   let (p0, nsub) = p in
   let (p1, z) = p0 in
-  let (f, t) = p1 in f :: (t :: (z :: (nsub :: (al :: []))))
+  let (f, t0) = p1 in f :: (t0 :: (z :: (nsub :: (al :: []))))
 
 (** val enc_oti : oti outcome -> n list **)
 
@@ -1966,7 +11919,7 @@ let rec triples = function
    | b :: l1 ->
      (match l1 with
       | [] -> []
-      | c :: t -> ((a, b), c) :: (triples t)))
+      | c :: t0 -> ((a, b), c) :: (triples t0)))
 
 (** val run_wire : n -> n list -> n list **)
 
@@ -2205,7 +12158,7 @@ let run_wire f a =
                          (match p6 with
                           | XH ->
                             (Npos
-                              XH) :: ((b2n
+                              XH) :: ((b2n0
                                         (oti_validb (arg a O) (arg a (S O))
                                           (arg a (S (S O)))
                                           (arg a (S (S (S (S O))))))) :: [])
@@ -2251,6 +12204,286 @@ let run_wire f a =
         | XH -> N0 :: ((Npos (XI (XI (XO (XO (XO (XI XH))))))) :: []))
      | XH -> N0 :: ((Npos (XI (XI (XO (XO (XO (XI XH))))))) :: []))
 
+(** val run_codec : n -> n list -> n list **)
+
+let run_codec f a =
+  match f with
+  | N0 -> N0 :: ((Npos (XI (XI (XO (XO (XO (XI XH))))))) :: [])
+  | Npos p ->
+    (match p with
+     | XI p0 ->
+       (match p0 with
+        | XI p1 ->
+          (match p1 with
+           | XO p2 ->
+             (match p2 with
+              | XI p3 ->
+                (match p3 with
+                 | XI p4 ->
+                   (match p4 with
+                    | XI p5 ->
+                      (match p5 with
+                       | XI p6 ->
+                         (match p6 with
+                          | XH -> run_spec_layout_packets a
+                          | _ ->
+                            N0 :: ((Npos (XI (XI (XO (XO (XO (XI
+                              XH))))))) :: []))
+                       | _ ->
+                         N0 :: ((Npos (XI (XI (XO (XO (XO (XI XH))))))) :: []))
+                    | _ ->
+                      N0 :: ((Npos (XI (XI (XO (XO (XO (XI XH))))))) :: []))
+                 | XO p4 ->
+                   (match p4 with
+                    | XO p5 ->
+                      (match p5 with
+                       | XI p6 ->
+                         (match p6 with
+                          | XH -> run_sbd_hist Release a
+                          | _ ->
+                            N0 :: ((Npos (XI (XI (XO (XO (XO (XI
+                              XH))))))) :: []))
+                       | _ ->
+                         N0 :: ((Npos (XI (XI (XO (XO (XO (XI XH))))))) :: []))
+                    | _ ->
+                      N0 :: ((Npos (XI (XI (XO (XO (XO (XI XH))))))) :: []))
+                 | XH -> N0 :: ((Npos (XI (XI (XO (XO (XO (XI XH))))))) :: []))
+              | XO p3 ->
+                (match p3 with
+                 | XI p4 ->
+                   (match p4 with
+                    | XO p5 ->
+                      (match p5 with
+                       | XI p6 ->
+                         (match p6 with
+                          | XH -> run_repair_window Checked a
+                          | _ ->
+                            N0 :: ((Npos (XI (XI (XO (XO (XO (XI
+                              XH))))))) :: []))
+                       | _ ->
+                         N0 :: ((Npos (XI (XI (XO (XO (XO (XI XH))))))) :: []))
+                    | _ ->
+                      N0 :: ((Npos (XI (XI (XO (XO (XO (XI XH))))))) :: []))
+                 | _ -> N0 :: ((Npos (XI (XI (XO (XO (XO (XI XH))))))) :: []))
+              | XH -> N0 :: ((Npos (XI (XI (XO (XO (XO (XI XH))))))) :: []))
+           | _ -> N0 :: ((Npos (XI (XI (XO (XO (XO (XI XH))))))) :: []))
+        | XO p1 ->
+          (match p1 with
+           | XI p2 ->
+             (match p2 with
+              | XI p3 ->
+                (match p3 with
+                 | XO p4 ->
+                   (match p4 with
+                    | XO p5 ->
+                      (match p5 with
+                       | XI p6 ->
+                         (match p6 with
+                          | XH -> run_layout_packets Release a
+                          | _ ->
+                            N0 :: ((Npos (XI (XI (XO (XO (XO (XI
+                              XH))))))) :: []))
+                       | _ ->
+                         N0 :: ((Npos (XI (XI (XO (XO (XO (XI XH))))))) :: []))
+                    | _ ->
+                      N0 :: ((Npos (XI (XI (XO (XO (XO (XI XH))))))) :: []))
+                 | _ -> N0 :: ((Npos (XI (XI (XO (XO (XO (XI XH))))))) :: []))
+              | XO p3 ->
+                (match p3 with
+                 | XI p4 ->
+                   (match p4 with
+                    | XO p5 ->
+                      (match p5 with
+                       | XI p6 ->
+                         (match p6 with
+                          | XH -> run_sbd_hist Checked a
+                          | _ ->
+                            N0 :: ((Npos (XI (XI (XO (XO (XO (XI
+                              XH))))))) :: []))
+                       | _ ->
+                         N0 :: ((Npos (XI (XI (XO (XO (XO (XI XH))))))) :: []))
+                    | _ ->
+                      N0 :: ((Npos (XI (XI (XO (XO (XO (XI XH))))))) :: []))
+                 | _ -> N0 :: ((Npos (XI (XI (XO (XO (XO (XI XH))))))) :: []))
+              | XH -> N0 :: ((Npos (XI (XI (XO (XO (XO (XI XH))))))) :: []))
+           | XO p2 ->
+             (match p2 with
+              | XI p3 ->
+                (match p3 with
+                 | XO p4 ->
+                   (match p4 with
+                    | XO p5 ->
+                      (match p5 with
+                       | XI p6 ->
+                         (match p6 with
+                          | XH -> run_repair_window Release a
+                          | _ ->
+                            N0 :: ((Npos (XI (XI (XO (XO (XO (XI
+                              XH))))))) :: []))
+                       | _ ->
+                         N0 :: ((Npos (XI (XI (XO (XO (XO (XI XH))))))) :: []))
+                    | _ ->
+                      N0 :: ((Npos (XI (XI (XO (XO (XO (XI XH))))))) :: []))
+                 | _ -> N0 :: ((Npos (XI (XI (XO (XO (XO (XI XH))))))) :: []))
+              | _ -> N0 :: ((Npos (XI (XI (XO (XO (XO (XI XH))))))) :: []))
+           | XH -> N0 :: ((Npos (XI (XI (XO (XO (XO (XI XH))))))) :: []))
+        | XH -> N0 :: ((Npos (XI (XI (XO (XO (XO (XI XH))))))) :: []))
+     | XO p0 ->
+       (match p0 with
+        | XI p1 ->
+          (match p1 with
+           | XI p2 ->
+             (match p2 with
+              | XI p3 ->
+                (match p3 with
+                 | XO p4 ->
+                   (match p4 with
+                    | XO p5 ->
+                      (match p5 with
+                       | XI p6 ->
+                         (match p6 with
+                          | XH -> run_layout_roundtrip Release a
+                          | _ ->
+                            N0 :: ((Npos (XI (XI (XO (XO (XO (XI
+                              XH))))))) :: []))
+                       | _ ->
+                         N0 :: ((Npos (XI (XI (XO (XO (XO (XI XH))))))) :: []))
+                    | _ ->
+                      N0 :: ((Npos (XI (XI (XO (XO (XO (XI XH))))))) :: []))
+                 | _ -> N0 :: ((Npos (XI (XI (XO (XO (XO (XI XH))))))) :: []))
+              | XO p3 ->
+                (match p3 with
+                 | XI p4 ->
+                   (match p4 with
+                    | XO p5 ->
+                      (match p5 with
+                       | XI p6 ->
+                         (match p6 with
+                          | XH -> run_intermediate Checked a
+                          | _ ->
+                            N0 :: ((Npos (XI (XI (XO (XO (XO (XI
+                              XH))))))) :: []))
+                       | _ ->
+                         N0 :: ((Npos (XI (XI (XO (XO (XO (XI XH))))))) :: []))
+                    | _ ->
+                      N0 :: ((Npos (XI (XI (XO (XO (XO (XI XH))))))) :: []))
+                 | _ -> N0 :: ((Npos (XI (XI (XO (XO (XO (XI XH))))))) :: []))
+              | XH -> N0 :: ((Npos (XI (XI (XO (XO (XO (XI XH))))))) :: []))
+           | XO p2 ->
+             (match p2 with
+              | XI p3 ->
+                (match p3 with
+                 | XI p4 ->
+                   (match p4 with
+                    | XI p5 ->
+                      (match p5 with
+                       | XI p6 ->
+                         (match p6 with
+                          | XH -> run_spec_block_packets a
+                          | _ ->
+                            N0 :: ((Npos (XI (XI (XO (XO (XO (XI
+                              XH))))))) :: []))
+                       | _ ->
+                         N0 :: ((Npos (XI (XI (XO (XO (XO (XI XH))))))) :: []))
+                    | _ ->
+                      N0 :: ((Npos (XI (XI (XO (XO (XO (XI XH))))))) :: []))
+                 | XO p4 ->
+                   (match p4 with
+                    | XO p5 ->
+                      (match p5 with
+                       | XI p6 ->
+                         (match p6 with
+                          | XH -> run_codec_hist Release a
+                          | _ ->
+                            N0 :: ((Npos (XI (XI (XO (XO (XO (XI
+                              XH))))))) :: []))
+                       | _ ->
+                         N0 :: ((Npos (XI (XI (XO (XO (XO (XI XH))))))) :: []))
+                    | _ ->
+                      N0 :: ((Npos (XI (XI (XO (XO (XO (XI XH))))))) :: []))
+                 | XH -> N0 :: ((Npos (XI (XI (XO (XO (XO (XI XH))))))) :: []))
+              | XO p3 ->
+                (match p3 with
+                 | XI p4 ->
+                   (match p4 with
+                    | XO p5 ->
+                      (match p5 with
+                       | XI p6 ->
+                         (match p6 with
+                          | XH -> run_enc_packets Checked a
+                          | _ ->
+                            N0 :: ((Npos (XI (XI (XO (XO (XO (XI
+                              XH))))))) :: []))
+                       | _ ->
+                         N0 :: ((Npos (XI (XI (XO (XO (XO (XI XH))))))) :: []))
+                    | _ ->
+                      N0 :: ((Npos (XI (XI (XO (XO (XO (XI XH))))))) :: []))
+                 | _ -> N0 :: ((Npos (XI (XI (XO (XO (XO (XI XH))))))) :: []))
+              | XH -> N0 :: ((Npos (XI (XI (XO (XO (XO (XI XH))))))) :: []))
+           | XH -> N0 :: ((Npos (XI (XI (XO (XO (XO (XI XH))))))) :: []))
+        | XO p1 ->
+          (match p1 with
+           | XI p2 ->
+             (match p2 with
+              | XI p3 ->
+                (match p3 with
+                 | XO p4 ->
+                   (match p4 with
+                    | XO p5 ->
+                      (match p5 with
+                       | XI p6 ->
+                         (match p6 with
+                          | XH -> run_intermediate Release a
+                          | _ ->
+                            N0 :: ((Npos (XI (XI (XO (XO (XO (XI
+                              XH))))))) :: []))
+                       | _ ->
+                         N0 :: ((Npos (XI (XI (XO (XO (XO (XI XH))))))) :: []))
+                    | _ ->
+                      N0 :: ((Npos (XI (XI (XO (XO (XO (XI XH))))))) :: []))
+                 | _ -> N0 :: ((Npos (XI (XI (XO (XO (XO (XI XH))))))) :: []))
+              | XO p3 ->
+                (match p3 with
+                 | XI p4 ->
+                   (match p4 with
+                    | XO p5 ->
+                      (match p5 with
+                       | XI p6 ->
+                         (match p6 with
+                          | XH -> run_codec_hist Checked a
+                          | _ ->
+                            N0 :: ((Npos (XI (XI (XO (XO (XO (XI
+                              XH))))))) :: []))
+                       | _ ->
+                         N0 :: ((Npos (XI (XI (XO (XO (XO (XI XH))))))) :: []))
+                    | _ ->
+                      N0 :: ((Npos (XI (XI (XO (XO (XO (XI XH))))))) :: []))
+                 | _ -> N0 :: ((Npos (XI (XI (XO (XO (XO (XI XH))))))) :: []))
+              | XH -> N0 :: ((Npos (XI (XI (XO (XO (XO (XI XH))))))) :: []))
+           | XO p2 ->
+             (match p2 with
+              | XI p3 ->
+                (match p3 with
+                 | XO p4 ->
+                   (match p4 with
+                    | XO p5 ->
+                      (match p5 with
+                       | XI p6 ->
+                         (match p6 with
+                          | XH -> run_enc_packets Release a
+                          | _ ->
+                            N0 :: ((Npos (XI (XI (XO (XO (XO (XI
+                              XH))))))) :: []))
+                       | _ ->
+                         N0 :: ((Npos (XI (XI (XO (XO (XO (XI XH))))))) :: []))
+                    | _ ->
+                      N0 :: ((Npos (XI (XI (XO (XO (XO (XI XH))))))) :: []))
+                 | _ -> N0 :: ((Npos (XI (XI (XO (XO (XO (XI XH))))))) :: []))
+              | _ -> N0 :: ((Npos (XI (XI (XO (XO (XO (XI XH))))))) :: []))
+           | XH -> N0 :: ((Npos (XI (XI (XO (XO (XO (XI XH))))))) :: []))
+        | XH -> N0 :: ((Npos (XI (XI (XO (XO (XO (XI XH))))))) :: []))
+     | XH -> N0 :: ((Npos (XI (XI (XO (XO (XO (XI XH))))))) :: []))
+
 (** val run : n -> n list -> n list **)
 
 let run f a =
@@ -2258,4 +12491,6 @@ let run f a =
   then run_octet f a
   else if N.ltb f (Npos (XO (XO (XO (XI (XO (XO (XI XH))))))))
        then run_wire f a
-       else N0 :: ((Npos (XI (XI (XO (XO (XO (XI XH))))))) :: [])
+       else if N.ltb f (Npos (XO (XO (XI (XI (XO (XI (XO (XO XH)))))))))
+            then run_codec f a
+            else N0 :: ((Npos (XI (XI (XO (XO (XO (XI XH))))))) :: [])
